@@ -9,16 +9,6 @@ type nat =
 | O
 | S of nat
 
-(** val fst : ('a1 * 'a2) -> 'a1 **)
-
-let fst = function
-| (x, _) -> x
-
-(** val snd : ('a1 * 'a2) -> 'a2 **)
-
-let snd = function
-| (_, y) -> y
-
 (** val length : 'a1 list -> nat **)
 
 let rec length = function
@@ -37,30 +27,19 @@ type comparison =
 | Lt
 | Gt
 
-(** val compOpp : comparison -> comparison **)
+(** val add : nat -> nat -> nat **)
 
-let compOpp = function
-| Eq -> Eq
-| Lt -> Gt
-| Gt -> Lt
-
-module Coq__1 = struct
- (** val add : nat -> nat -> nat **)
- let rec add n0 m =
-   match n0 with
-   | O -> m
-   | S p -> S (add p m)
-end
-include Coq__1
-
-(** val sub : nat -> nat -> nat **)
-
-let rec sub n0 m =
+let rec add n0 m =
   match n0 with
-  | O -> n0
-  | S k -> (match m with
-            | O -> n0
-            | S l -> sub k l)
+  | O -> m
+  | S p -> S (add p m)
+
+(** val mul : nat -> nat -> nat **)
+
+let rec mul n0 m =
+  match n0 with
+  | O -> O
+  | S p -> add m (mul p m)
 
 (** val eqb : bool -> bool -> bool **)
 
@@ -79,21 +58,74 @@ module Nat =
     | S n' -> (match m with
                | O -> false
                | S m' -> eqb n' m')
-
-  (** val leb : nat -> nat -> bool **)
-
-  let rec leb n0 m =
-    match n0 with
-    | O -> true
-    | S n' -> (match m with
-               | O -> false
-               | S m' -> leb n' m')
-
-  (** val ltb : nat -> nat -> bool **)
-
-  let ltb n0 m =
-    leb (S n0) m
  end
+
+(** val nth_error : 'a1 list -> nat -> 'a1 option **)
+
+let rec nth_error l = function
+| O -> (match l with
+        | [] -> None
+        | x :: _ -> Some x)
+| S n1 -> (match l with
+           | [] -> None
+           | _ :: l0 -> nth_error l0 n1)
+
+(** val last : 'a1 list -> 'a1 -> 'a1 **)
+
+let rec last l d =
+  match l with
+  | [] -> d
+  | a :: l0 -> (match l0 with
+                | [] -> a
+                | _ :: _ -> last l0 d)
+
+(** val rev : 'a1 list -> 'a1 list **)
+
+let rec rev = function
+| [] -> []
+| x :: l' -> app (rev l') (x :: [])
+
+(** val map : ('a1 -> 'a2) -> 'a1 list -> 'a2 list **)
+
+let rec map f = function
+| [] -> []
+| a :: t -> (f a) :: (map f t)
+
+(** val flat_map : ('a1 -> 'a2 list) -> 'a1 list -> 'a2 list **)
+
+let rec flat_map f = function
+| [] -> []
+| x :: t -> app (f x) (flat_map f t)
+
+(** val existsb : ('a1 -> bool) -> 'a1 list -> bool **)
+
+let rec existsb f = function
+| [] -> false
+| a :: l0 -> (||) (f a) (existsb f l0)
+
+(** val forallb : ('a1 -> bool) -> 'a1 list -> bool **)
+
+let rec forallb f = function
+| [] -> true
+| a :: l0 -> (&&) (f a) (forallb f l0)
+
+(** val filter : ('a1 -> bool) -> 'a1 list -> 'a1 list **)
+
+let rec filter f = function
+| [] -> []
+| x :: l0 -> if f x then x :: (filter f l0) else filter f l0
+
+(** val seq : nat -> nat -> nat list **)
+
+let rec seq start = function
+| O -> []
+| S len0 -> start :: (seq (S start) len0)
+
+(** val repeat : 'a1 -> nat -> 'a1 list **)
+
+let rec repeat x = function
+| O -> []
+| S k -> x :: (repeat x k)
 
 type positive =
 | XI of positive
@@ -104,20 +136,7 @@ type n =
 | N0
 | Npos of positive
 
-type z =
-| Z0
-| Zpos of positive
-| Zneg of positive
-
 module Pos =
- struct
-  type mask =
-  | IsNul
-  | IsPos of positive
-  | IsNeg
- end
-
-module Coq_Pos =
  struct
   (** val succ : positive -> positive **)
 
@@ -165,87 +184,6 @@ module Coq_Pos =
        | XO q -> XO (succ q)
        | XH -> XI XH)
 
-  (** val pred_double : positive -> positive **)
-
-  let rec pred_double = function
-  | XI p -> XI (XO p)
-  | XO p -> XI (pred_double p)
-  | XH -> XH
-
-  type mask = Pos.mask =
-  | IsNul
-  | IsPos of positive
-  | IsNeg
-
-  (** val succ_double_mask : mask -> mask **)
-
-  let succ_double_mask = function
-  | IsNul -> IsPos XH
-  | IsPos p -> IsPos (XI p)
-  | IsNeg -> IsNeg
-
-  (** val double_mask : mask -> mask **)
-
-  let double_mask = function
-  | IsPos p -> IsPos (XO p)
-  | x0 -> x0
-
-  (** val double_pred_mask : positive -> mask **)
-
-  let double_pred_mask = function
-  | XI p -> IsPos (XO (XO p))
-  | XO p -> IsPos (XO (pred_double p))
-  | XH -> IsNul
-
-  (** val sub_mask : positive -> positive -> mask **)
-
-  let rec sub_mask x y =
-    match x with
-    | XI p ->
-      (match y with
-       | XI q -> double_mask (sub_mask p q)
-       | XO q -> succ_double_mask (sub_mask p q)
-       | XH -> IsPos (XO p))
-    | XO p ->
-      (match y with
-       | XI q -> succ_double_mask (sub_mask_carry p q)
-       | XO q -> double_mask (sub_mask p q)
-       | XH -> IsPos (pred_double p))
-    | XH -> (match y with
-             | XH -> IsNul
-             | _ -> IsNeg)
-
-  (** val sub_mask_carry : positive -> positive -> mask **)
-
-  and sub_mask_carry x y =
-    match x with
-    | XI p ->
-      (match y with
-       | XI q -> succ_double_mask (sub_mask_carry p q)
-       | XO q -> double_mask (sub_mask p q)
-       | XH -> IsPos (pred_double p))
-    | XO p ->
-      (match y with
-       | XI q -> double_mask (sub_mask_carry p q)
-       | XO q -> succ_double_mask (sub_mask_carry p q)
-       | XH -> double_pred_mask p)
-    | XH -> IsNeg
-
-  (** val mul : positive -> positive -> positive **)
-
-  let rec mul x y =
-    match x with
-    | XI p -> add y (XO (mul p y))
-    | XO p -> XO (mul p y)
-    | XH -> y
-
-  (** val size : positive -> positive **)
-
-  let rec size = function
-  | XI p0 -> succ (size p0)
-  | XO p0 -> succ (size p0)
-  | XH -> XH
-
   (** val compare_cont : comparison -> positive -> positive -> comparison **)
 
   let rec compare_cont r x y =
@@ -282,35 +220,10 @@ module Coq_Pos =
     | XH -> (match q with
              | XH -> true
              | _ -> false)
-
-  (** val iter_op : ('a1 -> 'a1 -> 'a1) -> positive -> 'a1 -> 'a1 **)
-
-  let rec iter_op op p a =
-    match p with
-    | XI p0 -> op a (iter_op op p0 (op a a))
-    | XO p0 -> iter_op op p0 (op a a)
-    | XH -> a
-
-  (** val to_nat : positive -> nat **)
-
-  let to_nat x =
-    iter_op Coq__1.add x (S O)
  end
 
 module N =
  struct
-  (** val succ_double : n -> n **)
-
-  let succ_double = function
-  | N0 -> Npos XH
-  | Npos p -> Npos (XI p)
-
-  (** val double : n -> n **)
-
-  let double = function
-  | N0 -> N0
-  | Npos p -> Npos (XO p)
-
   (** val add : n -> n -> n **)
 
   let add n0 m =
@@ -318,29 +231,7 @@ module N =
     | N0 -> m
     | Npos p -> (match m with
                  | N0 -> n0
-                 | Npos q -> Npos (Coq_Pos.add p q))
-
-  (** val sub : n -> n -> n **)
-
-  let sub n0 m =
-    match n0 with
-    | N0 -> N0
-    | Npos n' ->
-      (match m with
-       | N0 -> n0
-       | Npos m' ->
-         (match Coq_Pos.sub_mask n' m' with
-          | Coq_Pos.IsPos p -> Npos p
-          | _ -> N0))
-
-  (** val mul : n -> n -> n **)
-
-  let mul n0 m =
-    match n0 with
-    | N0 -> N0
-    | Npos p -> (match m with
-                 | N0 -> N0
-                 | Npos q -> Npos (Coq_Pos.mul p q))
+                 | Npos q -> Npos (Pos.add p q))
 
   (** val compare : n -> n -> comparison **)
 
@@ -351,7 +242,7 @@ module N =
              | Npos _ -> Lt)
     | Npos n' -> (match m with
                   | N0 -> Gt
-                  | Npos m' -> Coq_Pos.compare n' m')
+                  | Npos m' -> Pos.compare n' m')
 
   (** val eqb : n -> n -> bool **)
 
@@ -362,7 +253,7 @@ module N =
              | Npos _ -> false)
     | Npos p -> (match m with
                  | N0 -> false
-                 | Npos q -> Coq_Pos.eqb p q)
+                 | Npos q -> Pos.eqb p q)
 
   (** val leb : n -> n -> bool **)
 
@@ -370,247 +261,6 @@ module N =
     match compare x y with
     | Gt -> false
     | _ -> true
-
-  (** val ltb : n -> n -> bool **)
-
-  let ltb x y =
-    match compare x y with
-    | Lt -> true
-    | _ -> false
-
-  (** val log2 : n -> n **)
-
-  let log2 = function
-  | N0 -> N0
-  | Npos p0 ->
-    (match p0 with
-     | XI p -> Npos (Coq_Pos.size p)
-     | XO p -> Npos (Coq_Pos.size p)
-     | XH -> N0)
-
-  (** val pos_div_eucl : positive -> n -> n * n **)
-
-  let rec pos_div_eucl a b =
-    match a with
-    | XI a' ->
-      let (q, r) = pos_div_eucl a' b in
-      let r' = succ_double r in
-      if leb b r' then ((succ_double q), (sub r' b)) else ((double q), r')
-    | XO a' ->
-      let (q, r) = pos_div_eucl a' b in
-      let r' = double r in
-      if leb b r' then ((succ_double q), (sub r' b)) else ((double q), r')
-    | XH ->
-      (match b with
-       | N0 -> (N0, (Npos XH))
-       | Npos p -> (match p with
-                    | XH -> ((Npos XH), N0)
-                    | _ -> (N0, (Npos XH))))
-
-  (** val div_eucl : n -> n -> n * n **)
-
-  let div_eucl a b =
-    match a with
-    | N0 -> (N0, N0)
-    | Npos na -> (match b with
-                  | N0 -> (N0, a)
-                  | Npos _ -> pos_div_eucl na b)
-
-  (** val div : n -> n -> n **)
-
-  let div a b =
-    fst (div_eucl a b)
-
-  (** val modulo : n -> n -> n **)
-
-  let modulo a b =
-    snd (div_eucl a b)
-
-  (** val to_nat : n -> nat **)
-
-  let to_nat = function
-  | N0 -> O
-  | Npos p -> Coq_Pos.to_nat p
- end
-
-(** val rev : 'a1 list -> 'a1 list **)
-
-let rec rev = function
-| [] -> []
-| x :: l' -> app (rev l') (x :: [])
-
-(** val concat : 'a1 list list -> 'a1 list **)
-
-let rec concat = function
-| [] -> []
-| x :: l0 -> app x (concat l0)
-
-(** val map : ('a1 -> 'a2) -> 'a1 list -> 'a2 list **)
-
-let rec map f = function
-| [] -> []
-| a :: t -> (f a) :: (map f t)
-
-(** val flat_map : ('a1 -> 'a2 list) -> 'a1 list -> 'a2 list **)
-
-let rec flat_map f = function
-| [] -> []
-| x :: t -> app (f x) (flat_map f t)
-
-(** val forallb : ('a1 -> bool) -> 'a1 list -> bool **)
-
-let rec forallb f = function
-| [] -> true
-| a :: l0 -> (&&) (f a) (forallb f l0)
-
-(** val firstn : nat -> 'a1 list -> 'a1 list **)
-
-let rec firstn n0 l =
-  match n0 with
-  | O -> []
-  | S n1 -> (match l with
-             | [] -> []
-             | a :: l0 -> a :: (firstn n1 l0))
-
-(** val skipn : nat -> 'a1 list -> 'a1 list **)
-
-let rec skipn n0 l =
-  match n0 with
-  | O -> l
-  | S n1 -> (match l with
-             | [] -> []
-             | _ :: l0 -> skipn n1 l0)
-
-(** val repeat : 'a1 -> nat -> 'a1 list **)
-
-let rec repeat x = function
-| O -> []
-| S k -> x :: (repeat x k)
-
-module Z =
- struct
-  (** val double : z -> z **)
-
-  let double = function
-  | Z0 -> Z0
-  | Zpos p -> Zpos (XO p)
-  | Zneg p -> Zneg (XO p)
-
-  (** val succ_double : z -> z **)
-
-  let succ_double = function
-  | Z0 -> Zpos XH
-  | Zpos p -> Zpos (XI p)
-  | Zneg p -> Zneg (Coq_Pos.pred_double p)
-
-  (** val pred_double : z -> z **)
-
-  let pred_double = function
-  | Z0 -> Zneg XH
-  | Zpos p -> Zpos (Coq_Pos.pred_double p)
-  | Zneg p -> Zneg (XI p)
-
-  (** val pos_sub : positive -> positive -> z **)
-
-  let rec pos_sub x y =
-    match x with
-    | XI p ->
-      (match y with
-       | XI q -> double (pos_sub p q)
-       | XO q -> succ_double (pos_sub p q)
-       | XH -> Zpos (XO p))
-    | XO p ->
-      (match y with
-       | XI q -> pred_double (pos_sub p q)
-       | XO q -> double (pos_sub p q)
-       | XH -> Zpos (Coq_Pos.pred_double p))
-    | XH ->
-      (match y with
-       | XI q -> Zneg (XO q)
-       | XO q -> Zneg (Coq_Pos.pred_double q)
-       | XH -> Z0)
-
-  (** val add : z -> z -> z **)
-
-  let add x y =
-    match x with
-    | Z0 -> y
-    | Zpos x' ->
-      (match y with
-       | Z0 -> x
-       | Zpos y' -> Zpos (Coq_Pos.add x' y')
-       | Zneg y' -> pos_sub x' y')
-    | Zneg x' ->
-      (match y with
-       | Z0 -> x
-       | Zpos y' -> pos_sub y' x'
-       | Zneg y' -> Zneg (Coq_Pos.add x' y'))
-
-  (** val opp : z -> z **)
-
-  let opp = function
-  | Z0 -> Z0
-  | Zpos x0 -> Zneg x0
-  | Zneg x0 -> Zpos x0
-
-  (** val mul : z -> z -> z **)
-
-  let mul x y =
-    match x with
-    | Z0 -> Z0
-    | Zpos x' ->
-      (match y with
-       | Z0 -> Z0
-       | Zpos y' -> Zpos (Coq_Pos.mul x' y')
-       | Zneg y' -> Zneg (Coq_Pos.mul x' y'))
-    | Zneg x' ->
-      (match y with
-       | Z0 -> Z0
-       | Zpos y' -> Zneg (Coq_Pos.mul x' y')
-       | Zneg y' -> Zpos (Coq_Pos.mul x' y'))
-
-  (** val compare : z -> z -> comparison **)
-
-  let compare x y =
-    match x with
-    | Z0 -> (match y with
-             | Z0 -> Eq
-             | Zpos _ -> Lt
-             | Zneg _ -> Gt)
-    | Zpos x' -> (match y with
-                  | Zpos y' -> Coq_Pos.compare x' y'
-                  | _ -> Gt)
-    | Zneg x' ->
-      (match y with
-       | Zneg y' -> compOpp (Coq_Pos.compare x' y')
-       | _ -> Lt)
-
-  (** val leb : z -> z -> bool **)
-
-  let leb x y =
-    match compare x y with
-    | Gt -> false
-    | _ -> true
-
-  (** val eqb : z -> z -> bool **)
-
-  let eqb x y =
-    match x with
-    | Z0 -> (match y with
-             | Z0 -> true
-             | _ -> false)
-    | Zpos p -> (match y with
-                 | Zpos q -> Coq_Pos.eqb p q
-                 | _ -> false)
-    | Zneg p -> (match y with
-                 | Zneg q -> Coq_Pos.eqb p q
-                 | _ -> false)
-
-  (** val of_N : n -> z **)
-
-  let of_N = function
-  | N0 -> Z0
-  | Npos p -> Zpos p
  end
 
 type ascii =
@@ -654,16 +304,6 @@ let rec eqb1 s1 s2 =
 
 type bytes = n list
 
-(** val sp : n **)
-
-let sp =
-  Npos (XO (XO (XO (XO (XO XH)))))
-
-(** val zero : n **)
-
-let zero =
-  Npos (XO (XO (XO (XO (XI XH)))))
-
 (** val bytes_eqb : bytes -> bytes -> bool **)
 
 let rec bytes_eqb a b =
@@ -676,30820 +316,806 @@ let rec bytes_eqb a b =
      | [] -> false
      | y :: b' -> (&&) (N.eqb x y) (bytes_eqb a' b'))
 
-(** val rune_error : n **)
-
-let rune_error =
-  Npos (XI (XO (XI (XI (XI (XI (XI (XI (XI (XI (XI (XI (XI (XI (XI
-    XH)))))))))))))))
-
-(** val cont : n -> bool **)
-
-let cont b =
-  (&&) (N.leb (Npos (XO (XO (XO (XO (XO (XO (XO XH)))))))) b)
-    (N.leb b (Npos (XI (XI (XI (XI (XI (XI (XO XH)))))))))
-
-(** val seq_size : n -> nat **)
-
-let seq_size b0 =
-  if N.ltb b0 (Npos (XO (XI (XO (XO (XO (XO (XI XH))))))))
-  then O
-  else if N.leb b0 (Npos (XI (XI (XI (XI (XI (XO (XI XH))))))))
-       then S (S O)
-       else if N.leb b0 (Npos (XI (XI (XI (XI (XO (XI (XI XH))))))))
-            then S (S (S O))
-            else if N.leb b0 (Npos (XO (XO (XI (XO (XI (XI (XI XH))))))))
-                 then S (S (S (S O)))
-                 else O
-
-(** val second_ok : n -> n -> bool **)
-
-let second_ok b0 b1 =
-  if N.eqb b0 (Npos (XO (XO (XO (XO (XO (XI (XI XH))))))))
-  then (&&) (N.leb (Npos (XO (XO (XO (XO (XO (XI (XO XH)))))))) b1)
-         (N.leb b1 (Npos (XI (XI (XI (XI (XI (XI (XO XH)))))))))
-  else if N.eqb b0 (Npos (XI (XO (XI (XI (XO (XI (XI XH))))))))
-       then (&&) (N.leb (Npos (XO (XO (XO (XO (XO (XO (XO XH)))))))) b1)
-              (N.leb b1 (Npos (XI (XI (XI (XI (XI (XO (XO XH)))))))))
-       else if N.eqb b0 (Npos (XO (XO (XO (XO (XI (XI (XI XH))))))))
-            then (&&) (N.leb (Npos (XO (XO (XO (XO (XI (XO (XO XH)))))))) b1)
-                   (N.leb b1 (Npos (XI (XI (XI (XI (XI (XI (XO XH)))))))))
-            else if N.eqb b0 (Npos (XO (XO (XI (XO (XI (XI (XI XH))))))))
-                 then (&&)
-                        (N.leb (Npos (XO (XO (XO (XO (XO (XO (XO XH))))))))
-                          b1)
-                        (N.leb b1 (Npos (XI (XI (XI (XI (XO (XO (XO
-                          XH)))))))))
-                 else cont b1
-
-(** val chunks : bytes -> (n * bytes) list **)
-
-let rec chunks = function
-| [] -> []
-| b0 :: t ->
-  if N.ltb b0 (Npos (XO (XO (XO (XO (XO (XO (XO XH))))))))
-  then (b0, (b0 :: [])) :: (chunks t)
-  else (match seq_size b0 with
-        | O -> (rune_error, (b0 :: [])) :: (chunks t)
-        | S n0 ->
-          (match n0 with
-           | O -> (rune_error, (b0 :: [])) :: (chunks t)
-           | S n1 ->
-             (match n1 with
-              | O ->
-                (match t with
-                 | [] -> (rune_error, (b0 :: [])) :: (chunks t)
-                 | b1 :: t1 ->
-                   if second_ok b0 b1
-                   then ((N.add
-                           (N.mul
-                             (N.sub b0 (Npos (XO (XO (XO (XO (XO (XO (XI
-                               XH))))))))) (Npos (XO (XO (XO (XO (XO (XO
-                             XH))))))))
-                           (N.sub b1 (Npos (XO (XO (XO (XO (XO (XO (XO
-                             XH)))))))))), (b0 :: (b1 :: []))) :: (chunks t1)
-                   else (rune_error, (b0 :: [])) :: (chunks t))
-              | S n2 ->
-                (match n2 with
-                 | O ->
-                   (match t with
-                    | [] -> (rune_error, (b0 :: [])) :: (chunks t)
-                    | b1 :: l0 ->
-                      (match l0 with
-                       | [] -> (rune_error, (b0 :: [])) :: (chunks t)
-                       | b2 :: t2 ->
-                         if (&&) (second_ok b0 b1) (cont b2)
-                         then ((N.add
-                                 (N.add
-                                   (N.mul
-                                     (N.sub b0 (Npos (XO (XO (XO (XO (XO (XI
-                                       (XI XH))))))))) (Npos (XO (XO (XO (XO
-                                     (XO (XO (XO (XO (XO (XO (XO (XO
-                                     XH))))))))))))))
-                                   (N.mul
-                                     (N.sub b1 (Npos (XO (XO (XO (XO (XO (XO
-                                       (XO XH))))))))) (Npos (XO (XO (XO (XO
-                                     (XO (XO XH)))))))))
-                                 (N.sub b2 (Npos (XO (XO (XO (XO (XO (XO (XO
-                                   XH)))))))))),
-                                (b0 :: (b1 :: (b2 :: [])))) :: (chunks t2)
-                         else (rune_error, (b0 :: [])) :: (chunks t)))
-                 | S n3 ->
-                   (match n3 with
-                    | O ->
-                      (match t with
-                       | [] -> (rune_error, (b0 :: [])) :: (chunks t)
-                       | b1 :: l0 ->
-                         (match l0 with
-                          | [] -> (rune_error, (b0 :: [])) :: (chunks t)
-                          | b2 :: l1 ->
-                            (match l1 with
-                             | [] -> (rune_error, (b0 :: [])) :: (chunks t)
-                             | b3 :: t3 ->
-                               if (&&) ((&&) (second_ok b0 b1) (cont b2))
-                                    (cont b3)
-                               then ((N.add
-                                       (N.add
-                                         (N.add
-                                           (N.mul
-                                             (N.sub b0 (Npos (XO (XO (XO (XO
-                                               (XI (XI (XI XH))))))))) (Npos
-                                             (XO (XO (XO (XO (XO (XO (XO (XO
-                                             (XO (XO (XO (XO (XO (XO (XO (XO
-                                             (XO (XO XH))))))))))))))))))))
-                                           (N.mul
-                                             (N.sub b1 (Npos (XO (XO (XO (XO
-                                               (XO (XO (XO XH))))))))) (Npos
-                                             (XO (XO (XO (XO (XO (XO (XO (XO
-                                             (XO (XO (XO (XO XH)))))))))))))))
-                                         (N.mul
-                                           (N.sub b2 (Npos (XO (XO (XO (XO
-                                             (XO (XO (XO XH))))))))) (Npos
-                                           (XO (XO (XO (XO (XO (XO XH)))))))))
-                                       (N.sub b3 (Npos (XO (XO (XO (XO (XO
-                                         (XO (XO XH)))))))))),
-                                      (b0 :: (b1 :: (b2 :: (b3 :: []))))) :: 
-                                      (chunks t3)
-                               else (rune_error, (b0 :: [])) :: (chunks t))))
-                    | S _ -> (rune_error, (b0 :: [])) :: (chunks t))))))
-
-(** val runes : bytes -> n list **)
-
-let runes l =
-  map fst (chunks l)
-
-(** val rune_count : bytes -> nat **)
-
-let rune_count l =
-  length (chunks l)
-
-(** val encode_rune : n -> bytes **)
-
-let encode_rune r =
-  if N.ltb r (Npos (XO (XO (XO (XO (XO (XO (XO XH))))))))
-  then r :: []
-  else if N.ltb r (Npos (XO (XO (XO (XO (XO (XO (XO (XO (XO (XO (XO
-            XH))))))))))))
-       then (N.add (Npos (XO (XO (XO (XO (XO (XO (XI XH))))))))
-              (N.div r (Npos (XO (XO (XO (XO (XO (XO XH))))))))) :: (
-              (N.add (Npos (XO (XO (XO (XO (XO (XO (XO XH))))))))
-                (N.modulo r (Npos (XO (XO (XO (XO (XO (XO XH))))))))) :: [])
-       else if (&&)
-                 (N.leb (Npos (XO (XO (XO (XO (XO (XO (XO (XO (XO (XO (XO (XI
-                   (XI (XO (XI XH)))))))))))))))) r)
-                 (N.leb r (Npos (XI (XI (XI (XI (XI (XI (XI (XI (XI (XI (XI
-                   (XI (XI (XO (XI XH)))))))))))))))))
-            then (Npos (XI (XI (XI (XI (XO (XI (XI XH)))))))) :: ((Npos (XI
-                   (XI (XI (XI (XI (XI (XO XH)))))))) :: ((Npos (XI (XO (XI
-                   (XI (XI (XI (XO XH)))))))) :: []))
-            else if N.ltb r (Npos (XO (XO (XO (XO (XO (XO (XO (XO (XO (XO (XO
-                      (XO (XO (XO (XO (XO XH)))))))))))))))))
-                 then (N.add (Npos (XO (XO (XO (XO (XO (XI (XI XH))))))))
-                        (N.div r (Npos (XO (XO (XO (XO (XO (XO (XO (XO (XO
-                          (XO (XO (XO XH))))))))))))))) :: ((N.add (Npos (XO
-                                                              (XO (XO (XO (XO
-                                                              (XO (XO
-                                                              XH))))))))
-                                                              (N.modulo
-                                                                (N.div r
-                                                                  (Npos (XO
-                                                                  (XO (XO (XO
-                                                                  (XO (XO
-                                                                  XH))))))))
-                                                                (Npos (XO (XO
-                                                                (XO (XO (XO
-                                                                (XO XH))))))))) :: (
-                        (N.add (Npos (XO (XO (XO (XO (XO (XO (XO XH))))))))
-                          (N.modulo r (Npos (XO (XO (XO (XO (XO (XO XH))))))))) :: []))
-                 else if N.ltb r (Npos (XO (XO (XO (XO (XO (XO (XO (XO (XO
-                           (XO (XO (XO (XO (XO (XO (XO (XI (XO (XO (XO
-                           XH)))))))))))))))))))))
-                      then (N.add (Npos (XO (XO (XO (XO (XI (XI (XI
-                             XH))))))))
-                             (N.div r (Npos (XO (XO (XO (XO (XO (XO (XO (XO
-                               (XO (XO (XO (XO (XO (XO (XO (XO (XO (XO
-                               XH))))))))))))))))))))) :: ((N.add (Npos (XO
-                                                             (XO (XO (XO (XO
-                                                             (XO (XO
-                                                             XH))))))))
-                                                             (N.modulo
-                                                               (N.div r (Npos
-                                                                 (XO (XO (XO
-                                                                 (XO (XO (XO
-                                                                 (XO (XO (XO
-                                                                 (XO (XO (XO
-                                                                 XH))))))))))))))
-                                                               (Npos (XO (XO
-                                                               (XO (XO (XO
-                                                               (XO XH))))))))) :: (
-                             (N.add (Npos (XO (XO (XO (XO (XO (XO (XO
-                               XH))))))))
-                               (N.modulo
-                                 (N.div r (Npos (XO (XO (XO (XO (XO (XO
-                                   XH)))))))) (Npos (XO (XO (XO (XO (XO (XO
-                                 XH))))))))) :: ((N.add (Npos (XO (XO (XO (XO
-                                                   (XO (XO (XO XH))))))))
-                                                   (N.modulo r (Npos (XO (XO
-                                                     (XO (XO (XO (XO
-                                                     XH))))))))) :: [])))
-                      else (Npos (XI (XI (XI (XI (XO (XI (XI
-                             XH)))))))) :: ((Npos (XI (XI (XI (XI (XI (XI (XO
-                             XH)))))))) :: ((Npos (XI (XO (XI (XI (XI (XI (XO
-                             XH)))))))) :: []))
-
-(** val encode : n list -> bytes **)
-
-let encode rs =
-  flat_map encode_rune rs
-
-type seg =
-| SLit of bytes
-| SAlpha of string * nat
-| SNum of string * nat
-| SStr of string * nat
-| SRaw of string
-| SItoa of string
-| SCustom of string * string
-| SUnknown of string
-
-type cut = { c_lo : nat; c_hi : nat; c_field : string; c_conv : string list;
-             c_const : bytes option }
-
-(** val mkcut : nat -> nat -> string -> string list -> cut **)
-
-let mkcut lo hi f conv =
-  { c_lo = lo; c_hi = hi; c_field = f; c_conv = conv; c_const = None }
-
-(** val mkconst : string -> bytes -> cut **)
-
-let mkconst f bs =
-  { c_lo = O; c_hi = O; c_field = f; c_conv = []; c_const = (Some bs) }
-
-type indexing =
-| IRune
-| IByte
-
-type layout = { l_name : string; l_ix : indexing; l_segs : seg list;
-                l_cuts : cut list }
-
-type value =
-| VS of bytes
-| VI of z
-
-type recval = (string * value) list
-
-(** val lookup : recval -> string -> value option **)
-
-let rec lookup r f =
-  match r with
-  | [] -> None
-  | p :: r' -> let (g, v) = p in if eqb1 f g then Some v else lookup r' f
-
-(** val gets : recval -> string -> bytes **)
-
-let gets r f =
-  match lookup r f with
-  | Some v -> (match v with
-               | VS s -> s
-               | VI _ -> [])
-  | None -> []
-
-(** val geti : recval -> string -> z **)
-
-let geti r f =
-  match lookup r f with
-  | Some v -> (match v with
-               | VS _ -> Z0
-               | VI z0 -> z0)
-  | None -> Z0
-
-(** val spaces : nat -> bytes **)
-
-let spaces n0 =
-  repeat sp n0
-
-(** val zeros : nat -> bytes **)
-
-let zeros n0 =
-  repeat zero n0
-
-(** val is_space : n -> bool **)
-
-let is_space r =
-  (||)
-    ((||)
-      ((||)
-        ((||)
-          ((||)
-            ((||)
-              ((||)
-                ((||)
-                  ((||)
-                    ((||)
-                      ((&&) (N.leb (Npos (XI (XO (XO XH)))) r)
-                        (N.leb r (Npos (XI (XO (XI XH))))))
-                      (N.eqb r (Npos (XO (XO (XO (XO (XO XH))))))))
-                    (N.eqb r (Npos (XI (XO (XI (XO (XO (XO (XO XH))))))))))
-                  (N.eqb r (Npos (XO (XO (XO (XO (XO (XI (XO XH))))))))))
-                (N.eqb r (Npos (XO (XO (XO (XO (XO (XO (XO (XI (XO (XI (XI
-                  (XO XH)))))))))))))))
-              ((&&)
-                (N.leb (Npos (XO (XO (XO (XO (XO (XO (XO (XO (XO (XO (XO (XO
-                  (XO XH)))))))))))))) r)
-                (N.leb r (Npos (XO (XI (XO (XI (XO (XO (XO (XO (XO (XO (XO
-                  (XO (XO XH)))))))))))))))))
-            (N.eqb r (Npos (XO (XO (XO (XI (XO (XI (XO (XO (XO (XO (XO (XO
-              (XO XH))))))))))))))))
-          (N.eqb r (Npos (XI (XO (XO (XI (XO (XI (XO (XO (XO (XO (XO (XO (XO
-            XH))))))))))))))))
-        (N.eqb r (Npos (XI (XI (XI (XI (XO (XI (XO (XO (XO (XO (XO (XO (XO
-          XH))))))))))))))))
-      (N.eqb r (Npos (XI (XI (XI (XI (XI (XO (XI (XO (XO (XO (XO (XO (XO
-        XH))))))))))))))))
-    (N.eqb r (Npos (XO (XO (XO (XO (XO (XO (XO (XO (XO (XO (XO (XO (XI
-      XH)))))))))))))))
-
-(** val drop_space : (n * bytes) list -> (n * bytes) list **)
-
-let rec drop_space cs = match cs with
-| [] -> []
-| p :: rest -> let (r, _) = p in if is_space r then drop_space rest else cs
-
-(** val trim : bytes -> bytes **)
-
-let trim s =
-  concat (map snd (rev (drop_space (rev (drop_space (chunks s))))))
-
-(** val rune_prefix : nat -> bytes -> bytes **)
-
-let rune_prefix w s =
-  encode (firstn w (runes s))
-
-(** val alphaField : bytes -> nat -> bytes **)
-
-let alphaField s w =
-  let n0 = rune_count s in
-  if Nat.ltb w n0 then rune_prefix w s else app s (spaces (sub w n0))
-
-(** val stringField : bytes -> nat -> bytes **)
-
-let stringField s w =
-  let n0 = rune_count s in
-  if Nat.ltb w n0 then rune_prefix w s else app (zeros (sub w n0)) s
-
-(** val digits_fuel : nat -> n -> bytes -> bytes **)
-
-let rec digits_fuel fuel n0 acc =
-  match fuel with
-  | O -> acc
-  | S k ->
-    if N.ltb n0 (Npos (XO (XI (XO XH))))
-    then (N.add (Npos (XO (XO (XO (XO (XI XH)))))) n0) :: acc
-    else digits_fuel k (N.div n0 (Npos (XO (XI (XO XH)))))
-           ((N.add (Npos (XO (XO (XO (XO (XI XH))))))
-              (N.modulo n0 (Npos (XO (XI (XO XH)))))) :: acc)
-
-(** val digits : n -> bytes **)
-
-let digits n0 =
-  digits_fuel (S (N.to_nat (N.log2 n0))) n0 []
-
-(** val itoa : z -> bytes **)
-
-let itoa = function
-| Z0 -> (Npos (XO (XO (XO (XO (XI XH)))))) :: []
-| Zpos p -> digits (Npos p)
-| Zneg p -> (Npos (XI (XO (XI (XI (XO XH)))))) :: (digits (Npos p))
-
-(** val numericField : z -> nat -> bytes **)
-
-let numericField z0 w =
-  let s = itoa z0 in
-  let l = length s in
-  if Nat.ltb w l then skipn (sub l w) s else app (zeros (sub w l)) s
-
-(** val is_digit : n -> bool **)
-
-let is_digit b =
-  (&&) (N.leb (Npos (XO (XO (XO (XO (XI XH)))))) b)
-    (N.leb b (Npos (XI (XO (XO (XI (XI XH)))))))
-
-(** val digits_val : bytes -> z -> z **)
-
-let rec digits_val s acc =
-  match s with
-  | [] -> acc
-  | b :: t ->
-    digits_val t
-      (Z.add (Z.mul acc (Zpos (XO (XI (XO XH)))))
-        (Z.of_N (N.sub b (Npos (XO (XO (XO (XO (XI XH)))))))))
-
-(** val max_int64 : z **)
-
-let max_int64 =
-  Zpos (XI (XI (XI (XI (XI (XI (XI (XI (XI (XI (XI (XI (XI (XI (XI (XI (XI
-    (XI (XI (XI (XI (XI (XI (XI (XI (XI (XI (XI (XI (XI (XI (XI (XI (XI (XI
-    (XI (XI (XI (XI (XI (XI (XI (XI (XI (XI (XI (XI (XI (XI (XI (XI (XI (XI
-    (XI (XI (XI (XI (XI (XI (XI (XI (XI
-    XH))))))))))))))))))))))))))))))))))))))))))))))))))))))))))))))
-
-(** val min_int64 : z **)
-
-let min_int64 =
-  Zneg (XO (XO (XO (XO (XO (XO (XO (XO (XO (XO (XO (XO (XO (XO (XO (XO (XO
-    (XO (XO (XO (XO (XO (XO (XO (XO (XO (XO (XO (XO (XO (XO (XO (XO (XO (XO
-    (XO (XO (XO (XO (XO (XO (XO (XO (XO (XO (XO (XO (XO (XO (XO (XO (XO (XO
-    (XO (XO (XO (XO (XO (XO (XO (XO (XO (XO
-    XH)))))))))))))))))))))))))))))))))))))))))))))))))))))))))))))))
-
-(** val atoi : bytes -> z **)
-
-let atoi s = match s with
-| [] ->
-  let neg = false in
-  (match s with
-   | [] -> Z0
-   | _ :: _ ->
-     if forallb is_digit s
-     then let v = digits_val s Z0 in
-          if neg
-          then if Z.leb min_int64 (Z.opp v) then Z.opp v else min_int64
-          else if Z.leb v max_int64 then v else max_int64
-     else Z0)
-| n0 :: t ->
-  (match n0 with
-   | N0 ->
-     let neg = false in
-     (match s with
-      | [] -> Z0
-      | _ :: _ ->
-        if forallb is_digit s
-        then let v = digits_val s Z0 in
-             if neg
-             then if Z.leb min_int64 (Z.opp v) then Z.opp v else min_int64
-             else if Z.leb v max_int64 then v else max_int64
-        else Z0)
-   | Npos p ->
-     (match p with
-      | XI p0 ->
-        (match p0 with
-         | XI p1 ->
-           (match p1 with
-            | XO p2 ->
-              (match p2 with
-               | XI p3 ->
-                 (match p3 with
-                  | XO p4 ->
-                    (match p4 with
-                     | XH ->
-                       let neg = false in
-                       (match t with
-                        | [] -> Z0
-                        | _ :: _ ->
-                          if forallb is_digit t
-                          then let v = digits_val t Z0 in
-                               if neg
-                               then if Z.leb min_int64 (Z.opp v)
-                                    then Z.opp v
-                                    else min_int64
-                               else if Z.leb v max_int64 then v else max_int64
-                          else Z0)
-                     | _ ->
-                       let neg = false in
-                       (match s with
-                        | [] -> Z0
-                        | _ :: _ ->
-                          if forallb is_digit s
-                          then let v = digits_val s Z0 in
-                               if neg
-                               then if Z.leb min_int64 (Z.opp v)
-                                    then Z.opp v
-                                    else min_int64
-                               else if Z.leb v max_int64 then v else max_int64
-                          else Z0))
-                  | _ ->
-                    let neg = false in
-                    (match s with
-                     | [] -> Z0
-                     | _ :: _ ->
-                       if forallb is_digit s
-                       then let v = digits_val s Z0 in
-                            if neg
-                            then if Z.leb min_int64 (Z.opp v)
-                                 then Z.opp v
-                                 else min_int64
-                            else if Z.leb v max_int64 then v else max_int64
-                       else Z0))
-               | _ ->
-                 let neg = false in
-                 (match s with
-                  | [] -> Z0
-                  | _ :: _ ->
-                    if forallb is_digit s
-                    then let v = digits_val s Z0 in
-                         if neg
-                         then if Z.leb min_int64 (Z.opp v)
-                              then Z.opp v
-                              else min_int64
-                         else if Z.leb v max_int64 then v else max_int64
-                    else Z0))
-            | _ ->
-              let neg = false in
-              (match s with
-               | [] -> Z0
-               | _ :: _ ->
-                 if forallb is_digit s
-                 then let v = digits_val s Z0 in
-                      if neg
-                      then if Z.leb min_int64 (Z.opp v)
-                           then Z.opp v
-                           else min_int64
-                      else if Z.leb v max_int64 then v else max_int64
-                 else Z0))
-         | XO p1 ->
-           (match p1 with
-            | XI p2 ->
-              (match p2 with
-               | XI p3 ->
-                 (match p3 with
-                  | XO p4 ->
-                    (match p4 with
-                     | XH ->
-                       let neg = true in
-                       (match t with
-                        | [] -> Z0
-                        | _ :: _ ->
-                          if forallb is_digit t
-                          then let v = digits_val t Z0 in
-                               if neg
-                               then if Z.leb min_int64 (Z.opp v)
-                                    then Z.opp v
-                                    else min_int64
-                               else if Z.leb v max_int64 then v else max_int64
-                          else Z0)
-                     | _ ->
-                       let neg = false in
-                       (match s with
-                        | [] -> Z0
-                        | _ :: _ ->
-                          if forallb is_digit s
-                          then let v = digits_val s Z0 in
-                               if neg
-                               then if Z.leb min_int64 (Z.opp v)
-                                    then Z.opp v
-                                    else min_int64
-                               else if Z.leb v max_int64 then v else max_int64
-                          else Z0))
-                  | _ ->
-                    let neg = false in
-                    (match s with
-                     | [] -> Z0
-                     | _ :: _ ->
-                       if forallb is_digit s
-                       then let v = digits_val s Z0 in
-                            if neg
-                            then if Z.leb min_int64 (Z.opp v)
-                                 then Z.opp v
-                                 else min_int64
-                            else if Z.leb v max_int64 then v else max_int64
-                       else Z0))
-               | _ ->
-                 let neg = false in
-                 (match s with
-                  | [] -> Z0
-                  | _ :: _ ->
-                    if forallb is_digit s
-                    then let v = digits_val s Z0 in
-                         if neg
-                         then if Z.leb min_int64 (Z.opp v)
-                              then Z.opp v
-                              else min_int64
-                         else if Z.leb v max_int64 then v else max_int64
-                    else Z0))
-            | _ ->
-              let neg = false in
-              (match s with
-               | [] -> Z0
-               | _ :: _ ->
-                 if forallb is_digit s
-                 then let v = digits_val s Z0 in
-                      if neg
-                      then if Z.leb min_int64 (Z.opp v)
-                           then Z.opp v
-                           else min_int64
-                      else if Z.leb v max_int64 then v else max_int64
-                 else Z0))
-         | XH ->
-           let neg = false in
-           (match s with
-            | [] -> Z0
-            | _ :: _ ->
-              if forallb is_digit s
-              then let v = digits_val s Z0 in
-                   if neg
-                   then if Z.leb min_int64 (Z.opp v)
-                        then Z.opp v
-                        else min_int64
-                   else if Z.leb v max_int64 then v else max_int64
-              else Z0))
-      | _ ->
-        let neg = false in
-        (match s with
-         | [] -> Z0
-         | _ :: _ ->
-           if forallb is_digit s
-           then let v = digits_val s Z0 in
-                if neg
-                then if Z.leb min_int64 (Z.opp v) then Z.opp v else min_int64
-                else if Z.leb v max_int64 then v else max_int64
-           else Z0)))
-
-(** val atoi_opt : bytes -> z option **)
-
-let atoi_opt s = match s with
-| [] ->
-  let neg = false in
-  (match s with
-   | [] -> None
-   | _ :: _ ->
-     if forallb is_digit s
-     then let v = digits_val s Z0 in
-          if neg
-          then if Z.leb min_int64 (Z.opp v) then Some (Z.opp v) else None
-          else if Z.leb v max_int64 then Some v else None
-     else None)
-| n0 :: t ->
-  (match n0 with
-   | N0 ->
-     let neg = false in
-     (match s with
-      | [] -> None
-      | _ :: _ ->
-        if forallb is_digit s
-        then let v = digits_val s Z0 in
-             if neg
-             then if Z.leb min_int64 (Z.opp v) then Some (Z.opp v) else None
-             else if Z.leb v max_int64 then Some v else None
-        else None)
-   | Npos p ->
-     (match p with
-      | XI p0 ->
-        (match p0 with
-         | XI p1 ->
-           (match p1 with
-            | XO p2 ->
-              (match p2 with
-               | XI p3 ->
-                 (match p3 with
-                  | XO p4 ->
-                    (match p4 with
-                     | XH ->
-                       let neg = false in
-                       (match t with
-                        | [] -> None
-                        | _ :: _ ->
-                          if forallb is_digit t
-                          then let v = digits_val t Z0 in
-                               if neg
-                               then if Z.leb min_int64 (Z.opp v)
-                                    then Some (Z.opp v)
-                                    else None
-                               else if Z.leb v max_int64 then Some v else None
-                          else None)
-                     | _ ->
-                       let neg = false in
-                       (match s with
-                        | [] -> None
-                        | _ :: _ ->
-                          if forallb is_digit s
-                          then let v = digits_val s Z0 in
-                               if neg
-                               then if Z.leb min_int64 (Z.opp v)
-                                    then Some (Z.opp v)
-                                    else None
-                               else if Z.leb v max_int64 then Some v else None
-                          else None))
-                  | _ ->
-                    let neg = false in
-                    (match s with
-                     | [] -> None
-                     | _ :: _ ->
-                       if forallb is_digit s
-                       then let v = digits_val s Z0 in
-                            if neg
-                            then if Z.leb min_int64 (Z.opp v)
-                                 then Some (Z.opp v)
-                                 else None
-                            else if Z.leb v max_int64 then Some v else None
-                       else None))
-               | _ ->
-                 let neg = false in
-                 (match s with
-                  | [] -> None
-                  | _ :: _ ->
-                    if forallb is_digit s
-                    then let v = digits_val s Z0 in
-                         if neg
-                         then if Z.leb min_int64 (Z.opp v)
-                              then Some (Z.opp v)
-                              else None
-                         else if Z.leb v max_int64 then Some v else None
-                    else None))
-            | _ ->
-              let neg = false in
-              (match s with
-               | [] -> None
-               | _ :: _ ->
-                 if forallb is_digit s
-                 then let v = digits_val s Z0 in
-                      if neg
-                      then if Z.leb min_int64 (Z.opp v)
-                           then Some (Z.opp v)
-                           else None
-                      else if Z.leb v max_int64 then Some v else None
-                 else None))
-         | XO p1 ->
-           (match p1 with
-            | XI p2 ->
-              (match p2 with
-               | XI p3 ->
-                 (match p3 with
-                  | XO p4 ->
-                    (match p4 with
-                     | XH ->
-                       let neg = true in
-                       (match t with
-                        | [] -> None
-                        | _ :: _ ->
-                          if forallb is_digit t
-                          then let v = digits_val t Z0 in
-                               if neg
-                               then if Z.leb min_int64 (Z.opp v)
-                                    then Some (Z.opp v)
-                                    else None
-                               else if Z.leb v max_int64 then Some v else None
-                          else None)
-                     | _ ->
-                       let neg = false in
-                       (match s with
-                        | [] -> None
-                        | _ :: _ ->
-                          if forallb is_digit s
-                          then let v = digits_val s Z0 in
-                               if neg
-                               then if Z.leb min_int64 (Z.opp v)
-                                    then Some (Z.opp v)
-                                    else None
-                               else if Z.leb v max_int64 then Some v else None
-                          else None))
-                  | _ ->
-                    let neg = false in
-                    (match s with
-                     | [] -> None
-                     | _ :: _ ->
-                       if forallb is_digit s
-                       then let v = digits_val s Z0 in
-                            if neg
-                            then if Z.leb min_int64 (Z.opp v)
-                                 then Some (Z.opp v)
-                                 else None
-                            else if Z.leb v max_int64 then Some v else None
-                       else None))
-               | _ ->
-                 let neg = false in
-                 (match s with
-                  | [] -> None
-                  | _ :: _ ->
-                    if forallb is_digit s
-                    then let v = digits_val s Z0 in
-                         if neg
-                         then if Z.leb min_int64 (Z.opp v)
-                              then Some (Z.opp v)
-                              else None
-                         else if Z.leb v max_int64 then Some v else None
-                    else None))
-            | _ ->
-              let neg = false in
-              (match s with
-               | [] -> None
-               | _ :: _ ->
-                 if forallb is_digit s
-                 then let v = digits_val s Z0 in
-                      if neg
-                      then if Z.leb min_int64 (Z.opp v)
-                           then Some (Z.opp v)
-                           else None
-                      else if Z.leb v max_int64 then Some v else None
-                 else None))
-         | XH ->
-           let neg = false in
-           (match s with
-            | [] -> None
-            | _ :: _ ->
-              if forallb is_digit s
-              then let v = digits_val s Z0 in
-                   if neg
-                   then if Z.leb min_int64 (Z.opp v)
-                        then Some (Z.opp v)
-                        else None
-                   else if Z.leb v max_int64 then Some v else None
-              else None))
-      | _ ->
-        let neg = false in
-        (match s with
-         | [] -> None
-         | _ :: _ ->
-           if forallb is_digit s
-           then let v = digits_val s Z0 in
-                if neg
-                then if Z.leb min_int64 (Z.opp v)
-                     then Some (Z.opp v)
-                     else None
-                else if Z.leb v max_int64 then Some v else None
-           else None)))
-
-(** val parseNumField : bytes -> z **)
-
-let parseNumField s =
-  atoi (trim s)
-
-(** val aUTOENROLL : bytes **)
-
-let aUTOENROLL =
-  (Npos (XI (XO (XO (XO (XO (XO XH))))))) :: ((Npos (XI (XO (XI (XO (XI (XO
-    XH))))))) :: ((Npos (XO (XO (XI (XO (XI (XO XH))))))) :: ((Npos (XI (XI
-    (XI (XI (XO (XO XH))))))) :: ((Npos (XI (XO (XI (XO (XO (XO
-    XH))))))) :: ((Npos (XO (XI (XI (XI (XO (XO XH))))))) :: ((Npos (XO (XI
-    (XO (XO (XI (XO XH))))))) :: ((Npos (XI (XI (XI (XI (XO (XO
-    XH))))))) :: ((Npos (XO (XO (XI (XI (XO (XO XH))))))) :: ((Npos (XO (XO
-    (XI (XI (XO (XO XH))))))) :: [])))))))))
-
-(** val eNR : bytes **)
-
-let eNR =
-  (Npos (XI (XO (XI (XO (XO (XO XH))))))) :: ((Npos (XO (XI (XI (XI (XO (XO
-    XH))))))) :: ((Npos (XO (XI (XO (XO (XI (XO XH))))))) :: []))
-
-(** val render_custom : string -> recval -> bytes option **)
-
-let render_custom name r =
-  if eqb1 name (String ((Ascii (true, false, false, false, false, false,
-       true, false)), (String ((Ascii (false, false, true, false, false,
-       true, true, false)), (String ((Ascii (false, false, true, false,
-       false, true, true, false)), (String ((Ascii (true, false, true, false,
-       false, true, true, false)), (String ((Ascii (false, true, true, true,
-       false, true, true, false)), (String ((Ascii (false, false, true,
-       false, false, true, true, false)), (String ((Ascii (true, false,
-       false, false, false, true, true, false)), (String ((Ascii (true,
-       false, false, true, true, true, false, false)), (String ((Ascii (true,
-       false, false, true, true, true, false, false)), (String ((Ascii
-       (false, true, true, true, false, true, false, false)), (String ((Ascii
-       (false, false, true, false, false, false, true, false)), (String
-       ((Ascii (true, false, false, false, false, true, true, false)),
-       (String ((Ascii (false, false, true, false, true, true, true, false)),
-       (String ((Ascii (true, false, true, false, false, true, true, false)),
-       (String ((Ascii (true, true, true, true, false, false, true, false)),
-       (String ((Ascii (false, true, true, false, false, true, true, false)),
-       (String ((Ascii (false, false, true, false, false, false, true,
-       false)), (String ((Ascii (true, false, true, false, false, true, true,
-       false)), (String ((Ascii (true, false, false, false, false, true,
-       true, false)), (String ((Ascii (false, false, true, false, true, true,
-       true, false)), (String ((Ascii (false, false, false, true, false,
-       true, true, false)), (String ((Ascii (false, true, true, false, false,
-       false, true, false)), (String ((Ascii (true, false, false, true,
-       false, true, true, false)), (String ((Ascii (true, false, true, false,
-       false, true, true, false)), (String ((Ascii (false, false, true, true,
-       false, true, true, false)), (String ((Ascii (false, false, true,
-       false, false, true, true, false)),
-       EmptyString))))))))))))))))))))))))))))))))))))))))))))))))))))
-  then Some
-         (match gets r (String ((Ascii (false, false, true, false, false,
-                  false, true, false)), (String ((Ascii (true, false, false,
-                  false, false, true, true, false)), (String ((Ascii (false,
-                  false, true, false, true, true, true, false)), (String
-                  ((Ascii (true, false, true, false, false, true, true,
-                  false)), (String ((Ascii (true, true, true, true, false,
-                  false, true, false)), (String ((Ascii (false, true, true,
-                  false, false, true, true, false)), (String ((Ascii (false,
-                  false, true, false, false, false, true, false)), (String
-                  ((Ascii (true, false, true, false, false, true, true,
-                  false)), (String ((Ascii (true, false, false, false, false,
-                  true, true, false)), (String ((Ascii (false, false, true,
-                  false, true, true, true, false)), (String ((Ascii (false,
-                  false, false, true, false, true, true, false)),
-                  EmptyString)))))))))))))))))))))) with
-          | [] -> spaces (S (S (S (S (S (S O))))))
-          | n0 :: l -> n0 :: l)
-  else if eqb1 name (String ((Ascii (false, true, false, false, false, false,
-            true, false)), (String ((Ascii (true, false, false, false, false,
-            true, true, false)), (String ((Ascii (false, false, true, false,
-            true, true, true, false)), (String ((Ascii (true, true, false,
-            false, false, true, true, false)), (String ((Ascii (false, false,
-            false, true, false, true, true, false)), (String ((Ascii (false,
-            false, false, true, false, false, true, false)), (String ((Ascii
-            (true, false, true, false, false, true, true, false)), (String
-            ((Ascii (true, false, false, false, false, true, true, false)),
-            (String ((Ascii (false, false, true, false, false, true, true,
-            false)), (String ((Ascii (true, false, true, false, false, true,
-            true, false)), (String ((Ascii (false, true, false, false, true,
-            true, true, false)), (String ((Ascii (false, true, true, true,
-            false, true, false, false)), (String ((Ascii (true, false, true,
-            false, false, false, true, false)), (String ((Ascii (false, true,
-            true, false, false, true, true, false)), (String ((Ascii (false,
-            true, true, false, false, true, true, false)), (String ((Ascii
-            (true, false, true, false, false, true, true, false)), (String
-            ((Ascii (true, true, false, false, false, true, true, false)),
-            (String ((Ascii (false, false, true, false, true, true, true,
-            false)), (String ((Ascii (true, false, false, true, false, true,
-            true, false)), (String ((Ascii (false, true, true, false, true,
-            true, true, false)), (String ((Ascii (true, false, true, false,
-            false, true, true, false)), (String ((Ascii (true, false, true,
-            false, false, false, true, false)), (String ((Ascii (false, true,
-            true, true, false, true, true, false)), (String ((Ascii (false,
-            false, true, false, true, true, true, false)), (String ((Ascii
-            (false, true, false, false, true, true, true, false)), (String
-            ((Ascii (true, false, false, true, true, true, true, false)),
-            (String ((Ascii (false, false, true, false, false, false, true,
-            false)), (String ((Ascii (true, false, false, false, false, true,
-            true, false)), (String ((Ascii (false, false, true, false, true,
-            true, true, false)), (String ((Ascii (true, false, true, false,
-            false, true, true, false)), (String ((Ascii (false, true, true,
-            false, false, false, true, false)), (String ((Ascii (true, false,
-            false, true, false, true, true, false)), (String ((Ascii (true,
-            false, true, false, false, true, true, false)), (String ((Ascii
-            (false, false, true, true, false, true, true, false)), (String
-            ((Ascii (false, false, true, false, false, true, true, false)),
-            EmptyString))))))))))))))))))))))))))))))))))))))))))))))))))))))))))))))))))))))
-       then Some
-              (if (&&)
-                    (bytes_eqb
-                      (gets r (String ((Ascii (true, true, false, false,
-                        false, false, true, false)), (String ((Ascii (true,
-                        true, true, true, false, true, true, false)), (String
-                        ((Ascii (true, false, true, true, false, true, true,
-                        false)), (String ((Ascii (false, false, false, false,
-                        true, true, true, false)), (String ((Ascii (true,
-                        false, false, false, false, true, true, false)),
-                        (String ((Ascii (false, true, true, true, false,
-                        true, true, false)), (String ((Ascii (true, false,
-                        false, true, true, true, true, false)), (String
-                        ((Ascii (true, false, true, false, false, false,
-                        true, false)), (String ((Ascii (false, true, true,
-                        true, false, true, true, false)), (String ((Ascii
-                        (false, false, true, false, true, true, true,
-                        false)), (String ((Ascii (false, true, false, false,
-                        true, true, true, false)), (String ((Ascii (true,
-                        false, false, true, true, true, true, false)),
-                        (String ((Ascii (false, false, true, false, false,
-                        false, true, false)), (String ((Ascii (true, false,
-                        true, false, false, true, true, false)), (String
-                        ((Ascii (true, true, false, false, true, true, true,
-                        false)), (String ((Ascii (true, true, false, false,
-                        false, true, true, false)), (String ((Ascii (false,
-                        true, false, false, true, true, true, false)),
-                        (String ((Ascii (true, false, false, true, false,
-                        true, true, false)), (String ((Ascii (false, false,
-                        false, false, true, true, true, false)), (String
-                        ((Ascii (false, false, true, false, true, true, true,
-                        false)), (String ((Ascii (true, false, false, true,
-                        false, true, true, false)), (String ((Ascii (true,
-                        true, true, true, false, true, true, false)), (String
-                        ((Ascii (false, true, true, true, false, true, true,
-                        false)),
-                        EmptyString)))))))))))))))))))))))))))))))))))))))))))))))
-                      aUTOENROLL)
-                    (bytes_eqb
-                      (gets r (String ((Ascii (true, true, false, false,
-                        true, false, true, false)), (String ((Ascii (false,
-                        false, true, false, true, true, true, false)),
-                        (String ((Ascii (true, false, false, false, false,
-                        true, true, false)), (String ((Ascii (false, true,
-                        true, true, false, true, true, false)), (String
-                        ((Ascii (false, false, true, false, false, true,
-                        true, false)), (String ((Ascii (true, false, false,
-                        false, false, true, true, false)), (String ((Ascii
-                        (false, true, false, false, true, true, true,
-                        false)), (String ((Ascii (false, false, true, false,
-                        false, true, true, false)), (String ((Ascii (true,
-                        false, true, false, false, false, true, false)),
-                        (String ((Ascii (false, true, true, true, false,
-                        true, true, false)), (String ((Ascii (false, false,
-                        true, false, true, true, true, false)), (String
-                        ((Ascii (false, true, false, false, true, true, true,
-                        false)), (String ((Ascii (true, false, false, true,
-                        true, true, true, false)), (String ((Ascii (true,
-                        true, false, false, false, false, true, false)),
-                        (String ((Ascii (false, false, true, true, false,
-                        true, true, false)), (String ((Ascii (true, false,
-                        false, false, false, true, true, false)), (String
-                        ((Ascii (true, true, false, false, true, true, true,
-                        false)), (String ((Ascii (true, true, false, false,
-                        true, true, true, false)), (String ((Ascii (true,
-                        true, false, false, false, false, true, false)),
-                        (String ((Ascii (true, true, true, true, false, true,
-                        true, false)), (String ((Ascii (false, false, true,
-                        false, false, true, true, false)), (String ((Ascii
-                        (true, false, true, false, false, true, true,
-                        false)),
-                        EmptyString)))))))))))))))))))))))))))))))))))))))))))))
-                      eNR)
-               then spaces (S (S (S (S (S (S O))))))
-               else stringField
-                      (gets r (String ((Ascii (true, false, true, false,
-                        false, false, true, false)), (String ((Ascii (false,
-                        true, true, false, false, true, true, false)),
-                        (String ((Ascii (false, true, true, false, false,
-                        true, true, false)), (String ((Ascii (true, false,
-                        true, false, false, true, true, false)), (String
-                        ((Ascii (true, true, false, false, false, true, true,
-                        false)), (String ((Ascii (false, false, true, false,
-                        true, true, true, false)), (String ((Ascii (true,
-                        false, false, true, false, true, true, false)),
-                        (String ((Ascii (false, true, true, false, true,
-                        true, true, false)), (String ((Ascii (true, false,
-                        true, false, false, true, true, false)), (String
-                        ((Ascii (true, false, true, false, false, false,
-                        true, false)), (String ((Ascii (false, true, true,
-                        true, false, true, true, false)), (String ((Ascii
-                        (false, false, true, false, true, true, true,
-                        false)), (String ((Ascii (false, true, false, false,
-                        true, true, true, false)), (String ((Ascii (true,
-                        false, false, true, true, true, true, false)),
-                        (String ((Ascii (false, false, true, false, false,
-                        false, true, false)), (String ((Ascii (true, false,
-                        false, false, false, true, true, false)), (String
-                        ((Ascii (false, false, true, false, true, true, true,
-                        false)), (String ((Ascii (true, false, true, false,
-                        false, true, true, false)),
-                        EmptyString))))))))))))))))))))))))))))))))))))) (S
-                      (S (S (S (S (S O)))))))
-       else if eqb1 name (String ((Ascii (false, true, true, false, false,
-                 false, true, false)), (String ((Ascii (true, false, false,
-                 true, false, true, true, false)), (String ((Ascii (false,
-                 false, true, true, false, true, true, false)), (String
-                 ((Ascii (true, false, true, false, false, true, true,
-                 false)), (String ((Ascii (false, false, false, true, false,
-                 false, true, false)), (String ((Ascii (true, false, true,
-                 false, false, true, true, false)), (String ((Ascii (true,
-                 false, false, false, false, true, true, false)), (String
-                 ((Ascii (false, false, true, false, false, true, true,
-                 false)), (String ((Ascii (true, false, true, false, false,
-                 true, true, false)), (String ((Ascii (false, true, false,
-                 false, true, true, true, false)), (String ((Ascii (false,
-                 true, true, true, false, true, false, false)), (String
-                 ((Ascii (true, false, false, true, false, false, true,
-                 false)), (String ((Ascii (true, false, true, true, false,
-                 true, true, false)), (String ((Ascii (true, false, true,
-                 true, false, true, true, false)), (String ((Ascii (true,
-                 false, true, false, false, true, true, false)), (String
-                 ((Ascii (false, false, true, false, false, true, true,
-                 false)), (String ((Ascii (true, false, false, true, false,
-                 true, true, false)), (String ((Ascii (true, false, false,
-                 false, false, true, true, false)), (String ((Ascii (false,
-                 false, true, false, true, true, true, false)), (String
-                 ((Ascii (true, false, true, false, false, true, true,
-                 false)), (String ((Ascii (false, false, true, false, false,
-                 false, true, false)), (String ((Ascii (true, false, true,
-                 false, false, true, true, false)), (String ((Ascii (true,
-                 true, false, false, true, true, true, false)), (String
-                 ((Ascii (false, false, true, false, true, true, true,
-                 false)), (String ((Ascii (true, false, false, true, false,
-                 true, true, false)), (String ((Ascii (false, true, true,
-                 true, false, true, true, false)), (String ((Ascii (true,
-                 false, false, false, false, true, true, false)), (String
-                 ((Ascii (false, false, true, false, true, true, true,
-                 false)), (String ((Ascii (true, false, false, true, false,
-                 true, true, false)), (String ((Ascii (true, true, true,
-                 true, false, true, true, false)), (String ((Ascii (false,
-                 true, true, true, false, true, true, false)), (String
-                 ((Ascii (false, true, true, false, false, false, true,
-                 false)), (String ((Ascii (true, false, false, true, false,
-                 true, true, false)), (String ((Ascii (true, false, true,
-                 false, false, true, true, false)), (String ((Ascii (false,
-                 false, true, true, false, true, true, false)), (String
-                 ((Ascii (false, false, true, false, false, true, true,
-                 false)),
-                 EmptyString))))))))))))))))))))))))))))))))))))))))))))))))))))))))))))))))))))))))
-            then Some
-                   (match gets r (String ((Ascii (true, false, false, true,
-                            false, false, true, false)), (String ((Ascii
-                            (true, false, true, true, false, true, true,
-                            false)), (String ((Ascii (true, false, true,
-                            true, false, true, true, false)), (String ((Ascii
-                            (true, false, true, false, false, true, true,
-                            false)), (String ((Ascii (false, false, true,
-                            false, false, true, true, false)), (String
-                            ((Ascii (true, false, false, true, false, true,
-                            true, false)), (String ((Ascii (true, false,
-                            false, false, false, true, true, false)), (String
-                            ((Ascii (false, false, true, false, true, true,
-                            true, false)), (String ((Ascii (true, false,
-                            true, false, false, true, true, false)), (String
-                            ((Ascii (false, false, true, false, false, false,
-                            true, false)), (String ((Ascii (true, false,
-                            true, false, false, true, true, false)), (String
-                            ((Ascii (true, true, false, false, true, true,
-                            true, false)), (String ((Ascii (false, false,
-                            true, false, true, true, true, false)), (String
-                            ((Ascii (true, false, false, true, false, true,
-                            true, false)), (String ((Ascii (false, true,
-                            true, true, false, true, true, false)), (String
-                            ((Ascii (true, false, false, false, false, true,
-                            true, false)), (String ((Ascii (false, false,
-                            true, false, true, true, true, false)), (String
-                            ((Ascii (true, false, false, true, false, true,
-                            true, false)), (String ((Ascii (true, true, true,
-                            true, false, true, true, false)), (String ((Ascii
-                            (false, true, true, true, false, true, true,
-                            false)),
-                            EmptyString)))))))))))))))))))))))))))))))))))))))) with
-                    | [] -> spaces (S (S (S (S (S (S (S (S (S (S O))))))))))
-                    | n0 :: l ->
-                      sp :: (stringField (trim (n0 :: l)) (S (S (S (S (S (S
-                              (S (S (S O)))))))))))
-            else if eqb1 name (String ((Ascii (false, true, true, false,
-                      false, false, true, false)), (String ((Ascii (true,
-                      false, false, true, false, true, true, false)), (String
-                      ((Ascii (false, false, true, true, false, true, true,
-                      false)), (String ((Ascii (true, false, true, false,
-                      false, true, true, false)), (String ((Ascii (false,
-                      false, false, true, false, false, true, false)),
-                      (String ((Ascii (true, false, true, false, false, true,
-                      true, false)), (String ((Ascii (true, false, false,
-                      false, false, true, true, false)), (String ((Ascii
-                      (false, false, true, false, false, true, true, false)),
-                      (String ((Ascii (true, false, true, false, false, true,
-                      true, false)), (String ((Ascii (false, true, false,
-                      false, true, true, true, false)), (String ((Ascii
-                      (false, true, true, true, false, true, false, false)),
-                      (String ((Ascii (true, false, false, true, false,
-                      false, true, false)), (String ((Ascii (true, false,
-                      true, true, false, true, true, false)), (String ((Ascii
-                      (true, false, true, true, false, true, true, false)),
-                      (String ((Ascii (true, false, true, false, false, true,
-                      true, false)), (String ((Ascii (false, false, true,
-                      false, false, true, true, false)), (String ((Ascii
-                      (true, false, false, true, false, true, true, false)),
-                      (String ((Ascii (true, false, false, false, false,
-                      true, true, false)), (String ((Ascii (false, false,
-                      true, false, true, true, true, false)), (String ((Ascii
-                      (true, false, true, false, false, true, true, false)),
-                      (String ((Ascii (true, true, true, true, false, false,
-                      true, false)), (String ((Ascii (false, true, false,
-                      false, true, true, true, false)), (String ((Ascii
-                      (true, false, false, true, false, true, true, false)),
-                      (String ((Ascii (true, true, true, false, false, true,
-                      true, false)), (String ((Ascii (true, false, false,
-                      true, false, true, true, false)), (String ((Ascii
-                      (false, true, true, true, false, true, true, false)),
-                      (String ((Ascii (false, true, true, false, false,
-                      false, true, false)), (String ((Ascii (true, false,
-                      false, true, false, true, true, false)), (String
-                      ((Ascii (true, false, true, false, false, true, true,
-                      false)), (String ((Ascii (false, false, true, true,
-                      false, true, true, false)), (String ((Ascii (false,
-                      false, true, false, false, true, true, false)),
-                      EmptyString))))))))))))))))))))))))))))))))))))))))))))))))))))))))))))))
-                 then Some
-                        (match gets r (String ((Ascii (true, false, false,
-                                 true, false, false, true, false)), (String
-                                 ((Ascii (true, false, true, true, false,
-                                 true, true, false)), (String ((Ascii (true,
-                                 false, true, true, false, true, true,
-                                 false)), (String ((Ascii (true, false, true,
-                                 false, false, true, true, false)), (String
-                                 ((Ascii (false, false, true, false, false,
-                                 true, true, false)), (String ((Ascii (true,
-                                 false, false, true, false, true, true,
-                                 false)), (String ((Ascii (true, false,
-                                 false, false, false, true, true, false)),
-                                 (String ((Ascii (false, false, true, false,
-                                 true, true, true, false)), (String ((Ascii
-                                 (true, false, true, false, false, true,
-                                 true, false)), (String ((Ascii (true, true,
-                                 true, true, false, false, true, false)),
-                                 (String ((Ascii (false, true, false, false,
-                                 true, true, true, false)), (String ((Ascii
-                                 (true, false, false, true, false, true,
-                                 true, false)), (String ((Ascii (true, true,
-                                 true, false, false, true, true, false)),
-                                 (String ((Ascii (true, false, false, true,
-                                 false, true, true, false)), (String ((Ascii
-                                 (false, true, true, true, false, true, true,
-                                 false)),
-                                 EmptyString)))))))))))))))))))))))))))))) with
-                         | [] ->
-                           spaces (S (S (S (S (S (S (S (S (S (S O))))))))))
-                         | n0 :: l ->
-                           sp :: (stringField (trim (n0 :: l)) (S (S (S (S (S
-                                   (S (S (S (S O)))))))))))
-                 else if eqb1 name (String ((Ascii (false, true, true, false,
-                           false, false, true, false)), (String ((Ascii
-                           (true, false, false, true, false, true, true,
-                           false)), (String ((Ascii (false, false, true,
-                           true, false, true, true, false)), (String ((Ascii
-                           (true, false, true, false, false, true, true,
-                           false)), (String ((Ascii (false, false, false,
-                           true, false, false, true, false)), (String ((Ascii
-                           (true, false, true, false, false, true, true,
-                           false)), (String ((Ascii (true, false, false,
-                           false, false, true, true, false)), (String ((Ascii
-                           (false, false, true, false, false, true, true,
-                           false)), (String ((Ascii (true, false, true,
-                           false, false, true, true, false)), (String ((Ascii
-                           (false, true, false, false, true, true, true,
-                           false)), (String ((Ascii (false, true, true, true,
-                           false, true, false, false)), (String ((Ascii
-                           (false, true, true, false, false, false, true,
-                           false)), (String ((Ascii (true, false, false,
-                           true, false, true, true, false)), (String ((Ascii
-                           (false, false, true, true, false, true, true,
-                           false)), (String ((Ascii (true, false, true,
-                           false, false, true, true, false)), (String ((Ascii
-                           (true, true, false, false, false, false, true,
-                           false)), (String ((Ascii (false, true, false,
-                           false, true, true, true, false)), (String ((Ascii
-                           (true, false, true, false, false, true, true,
-                           false)), (String ((Ascii (true, false, false,
-                           false, false, true, true, false)), (String ((Ascii
-                           (false, false, true, false, true, true, true,
-                           false)), (String ((Ascii (true, false, false,
-                           true, false, true, true, false)), (String ((Ascii
-                           (true, true, true, true, false, true, true,
-                           false)), (String ((Ascii (false, true, true, true,
-                           false, true, true, false)), (String ((Ascii
-                           (false, false, true, false, false, false, true,
-                           false)), (String ((Ascii (true, false, false,
-                           false, false, true, true, false)), (String ((Ascii
-                           (false, false, true, false, true, true, true,
-                           false)), (String ((Ascii (true, false, true,
-                           false, false, true, true, false)), (String ((Ascii
-                           (false, true, true, false, false, false, true,
-                           false)), (String ((Ascii (true, false, false,
-                           true, false, true, true, false)), (String ((Ascii
-                           (true, false, true, false, false, true, true,
-                           false)), (String ((Ascii (false, false, true,
-                           true, false, true, true, false)), (String ((Ascii
-                           (false, false, true, false, false, true, true,
-                           false)),
-                           EmptyString))))))))))))))))))))))))))))))))))))))))))))))))))))))))))))))))
-                      then if Nat.eqb
-                                (rune_count
-                                  (gets r (String ((Ascii (false, true, true,
-                                    false, false, false, true, false)),
-                                    (String ((Ascii (true, false, false,
-                                    true, false, true, true, false)), (String
-                                    ((Ascii (false, false, true, true, false,
-                                    true, true, false)), (String ((Ascii
-                                    (true, false, true, false, false, true,
-                                    true, false)), (String ((Ascii (true,
-                                    true, false, false, false, false, true,
-                                    false)), (String ((Ascii (false, true,
-                                    false, false, true, true, true, false)),
-                                    (String ((Ascii (true, false, true,
-                                    false, false, true, true, false)),
-                                    (String ((Ascii (true, false, false,
-                                    false, false, true, true, false)),
-                                    (String ((Ascii (false, false, true,
-                                    false, true, true, true, false)), (String
-                                    ((Ascii (true, false, false, true, false,
-                                    true, true, false)), (String ((Ascii
-                                    (true, true, true, true, false, true,
-                                    true, false)), (String ((Ascii (false,
-                                    true, true, true, false, true, true,
-                                    false)), (String ((Ascii (false, false,
-                                    true, false, false, false, true, false)),
-                                    (String ((Ascii (true, false, false,
-                                    false, false, true, true, false)),
-                                    (String ((Ascii (false, false, true,
-                                    false, true, true, true, false)), (String
-                                    ((Ascii (true, false, true, false, false,
-                                    true, true, false)),
-                                    EmptyString))))))))))))))))))))))))))))))))))
-                                (S (S (S (S (S (S O))))))
-                           then Some
-                                  (gets r (String ((Ascii (false, true, true,
-                                    false, false, false, true, false)),
-                                    (String ((Ascii (true, false, false,
-                                    true, false, true, true, false)), (String
-                                    ((Ascii (false, false, true, true, false,
-                                    true, true, false)), (String ((Ascii
-                                    (true, false, true, false, false, true,
-                                    true, false)), (String ((Ascii (true,
-                                    true, false, false, false, false, true,
-                                    false)), (String ((Ascii (false, true,
-                                    false, false, true, true, true, false)),
-                                    (String ((Ascii (true, false, true,
-                                    false, false, true, true, false)),
-                                    (String ((Ascii (true, false, false,
-                                    false, false, true, true, false)),
-                                    (String ((Ascii (false, false, true,
-                                    false, true, true, true, false)), (String
-                                    ((Ascii (true, false, false, true, false,
-                                    true, true, false)), (String ((Ascii
-                                    (true, true, true, true, false, true,
-                                    true, false)), (String ((Ascii (false,
-                                    true, true, true, false, true, true,
-                                    false)), (String ((Ascii (false, false,
-                                    true, false, false, false, true, false)),
-                                    (String ((Ascii (true, false, false,
-                                    false, false, true, true, false)),
-                                    (String ((Ascii (false, false, true,
-                                    false, true, true, true, false)), (String
-                                    ((Ascii (true, false, true, false, false,
-                                    true, true, false)),
-                                    EmptyString)))))))))))))))))))))))))))))))))
-                           else None
-                      else if eqb1 name (String ((Ascii (false, true, true,
-                                false, false, false, true, false)), (String
-                                ((Ascii (true, false, false, true, false,
-                                true, true, false)), (String ((Ascii (false,
-                                false, true, true, false, true, true,
-                                false)), (String ((Ascii (true, false, true,
-                                false, false, true, true, false)), (String
-                                ((Ascii (false, false, false, true, false,
-                                false, true, false)), (String ((Ascii (true,
-                                false, true, false, false, true, true,
-                                false)), (String ((Ascii (true, false, false,
-                                false, false, true, true, false)), (String
-                                ((Ascii (false, false, true, false, false,
-                                true, true, false)), (String ((Ascii (true,
-                                false, true, false, false, true, true,
-                                false)), (String ((Ascii (false, true, false,
-                                false, true, true, true, false)), (String
-                                ((Ascii (false, true, true, true, false,
-                                true, false, false)), (String ((Ascii (false,
-                                true, true, false, false, false, true,
-                                false)), (String ((Ascii (true, false, false,
-                                true, false, true, true, false)), (String
-                                ((Ascii (false, false, true, true, false,
-                                true, true, false)), (String ((Ascii (true,
-                                false, true, false, false, true, true,
-                                false)), (String ((Ascii (true, true, false,
-                                false, false, false, true, false)), (String
-                                ((Ascii (false, true, false, false, true,
-                                true, true, false)), (String ((Ascii (true,
-                                false, true, false, false, true, true,
-                                false)), (String ((Ascii (true, false, false,
-                                false, false, true, true, false)), (String
-                                ((Ascii (false, false, true, false, true,
-                                true, true, false)), (String ((Ascii (true,
-                                false, false, true, false, true, true,
-                                false)), (String ((Ascii (true, true, true,
-                                true, false, true, true, false)), (String
-                                ((Ascii (false, true, true, true, false,
-                                true, true, false)), (String ((Ascii (false,
-                                false, true, false, true, false, true,
-                                false)), (String ((Ascii (true, false, false,
-                                true, false, true, true, false)), (String
-                                ((Ascii (true, false, true, true, false,
-                                true, true, false)), (String ((Ascii (true,
-                                false, true, false, false, true, true,
-                                false)), (String ((Ascii (false, true, true,
-                                false, false, false, true, false)), (String
-                                ((Ascii (true, false, false, true, false,
-                                true, true, false)), (String ((Ascii (true,
-                                false, true, false, false, true, true,
-                                false)), (String ((Ascii (false, false, true,
-                                true, false, true, true, false)), (String
-                                ((Ascii (false, false, true, false, false,
-                                true, true, false)),
-                                EmptyString))))))))))))))))))))))))))))))))))))))))))))))))))))))))))))))))
-                           then if Nat.eqb
-                                     (rune_count
-                                       (gets r (String ((Ascii (false, true,
-                                         true, false, false, false, true,
-                                         false)), (String ((Ascii (true,
-                                         false, false, true, false, true,
-                                         true, false)), (String ((Ascii
-                                         (false, false, true, true, false,
-                                         true, true, false)), (String ((Ascii
-                                         (true, false, true, false, false,
-                                         true, true, false)), (String ((Ascii
-                                         (true, true, false, false, false,
-                                         false, true, false)), (String
-                                         ((Ascii (false, true, false, false,
-                                         true, true, true, false)), (String
-                                         ((Ascii (true, false, true, false,
-                                         false, true, true, false)), (String
-                                         ((Ascii (true, false, false, false,
-                                         false, true, true, false)), (String
-                                         ((Ascii (false, false, true, false,
-                                         true, true, true, false)), (String
-                                         ((Ascii (true, false, false, true,
-                                         false, true, true, false)), (String
-                                         ((Ascii (true, true, true, true,
-                                         false, true, true, false)), (String
-                                         ((Ascii (false, true, true, true,
-                                         false, true, true, false)), (String
-                                         ((Ascii (false, false, true, false,
-                                         true, false, true, false)), (String
-                                         ((Ascii (true, false, false, true,
-                                         false, true, true, false)), (String
-                                         ((Ascii (true, false, true, true,
-                                         false, true, true, false)), (String
-                                         ((Ascii (true, false, true, false,
-                                         false, true, true, false)),
-                                         EmptyString))))))))))))))))))))))))))))))))))
-                                     (S (S (S (S O))))
-                                then Some
-                                       (gets r (String ((Ascii (false, true,
-                                         true, false, false, false, true,
-                                         false)), (String ((Ascii (true,
-                                         false, false, true, false, true,
-                                         true, false)), (String ((Ascii
-                                         (false, false, true, true, false,
-                                         true, true, false)), (String ((Ascii
-                                         (true, false, true, false, false,
-                                         true, true, false)), (String ((Ascii
-                                         (true, true, false, false, false,
-                                         false, true, false)), (String
-                                         ((Ascii (false, true, false, false,
-                                         true, true, true, false)), (String
-                                         ((Ascii (true, false, true, false,
-                                         false, true, true, false)), (String
-                                         ((Ascii (true, false, false, false,
-                                         false, true, true, false)), (String
-                                         ((Ascii (false, false, true, false,
-                                         true, true, true, false)), (String
-                                         ((Ascii (true, false, false, true,
-                                         false, true, true, false)), (String
-                                         ((Ascii (true, true, true, true,
-                                         false, true, true, false)), (String
-                                         ((Ascii (false, true, true, true,
-                                         false, true, true, false)), (String
-                                         ((Ascii (false, false, true, false,
-                                         true, false, true, false)), (String
-                                         ((Ascii (true, false, false, true,
-                                         false, true, true, false)), (String
-                                         ((Ascii (true, false, true, true,
-                                         false, true, true, false)), (String
-                                         ((Ascii (true, false, true, false,
-                                         false, true, true, false)),
-                                         EmptyString)))))))))))))))))))))))))))))))))
-                                else None
-                           else if eqb1 name (String ((Ascii (true, false,
-                                     false, true, false, false, true,
-                                     false)), (String ((Ascii (true, false,
-                                     false, false, false, false, true,
-                                     false)), (String ((Ascii (false, false,
-                                     true, false, true, false, true, false)),
-                                     (String ((Ascii (false, true, false,
-                                     false, false, false, true, false)),
-                                     (String ((Ascii (true, false, false,
-                                     false, false, true, true, false)),
-                                     (String ((Ascii (false, false, true,
-                                     false, true, true, true, false)),
-                                     (String ((Ascii (true, true, false,
-                                     false, false, true, true, false)),
-                                     (String ((Ascii (false, false, false,
-                                     true, false, true, true, false)),
-                                     (String ((Ascii (false, false, false,
-                                     true, false, false, true, false)),
-                                     (String ((Ascii (true, false, true,
-                                     false, false, true, true, false)),
-                                     (String ((Ascii (true, false, false,
-                                     false, false, true, true, false)),
-                                     (String ((Ascii (false, false, true,
-                                     false, false, true, true, false)),
-                                     (String ((Ascii (true, false, true,
-                                     false, false, true, true, false)),
-                                     (String ((Ascii (false, true, false,
-                                     false, true, true, true, false)),
-                                     (String ((Ascii (false, true, true,
-                                     true, false, true, false, false)),
-                                     (String ((Ascii (false, true, true,
-                                     false, false, false, true, false)),
-                                     (String ((Ascii (true, true, true, true,
-                                     false, true, true, false)), (String
-                                     ((Ascii (false, true, false, false,
-                                     true, true, true, false)), (String
-                                     ((Ascii (true, false, true, false,
-                                     false, true, true, false)), (String
-                                     ((Ascii (true, false, false, true,
-                                     false, true, true, false)), (String
-                                     ((Ascii (true, true, true, false, false,
-                                     true, true, false)), (String ((Ascii
-                                     (false, true, true, true, false, true,
-                                     true, false)), (String ((Ascii (true,
-                                     false, true, false, false, false, true,
-                                     false)), (String ((Ascii (false, false,
-                                     false, true, true, true, true, false)),
-                                     (String ((Ascii (true, true, false,
-                                     false, false, true, true, false)),
-                                     (String ((Ascii (false, false, false,
-                                     true, false, true, true, false)),
-                                     (String ((Ascii (true, false, false,
-                                     false, false, true, true, false)),
-                                     (String ((Ascii (false, true, true,
-                                     true, false, true, true, false)),
-                                     (String ((Ascii (true, true, true,
-                                     false, false, true, true, false)),
-                                     (String ((Ascii (true, false, true,
-                                     false, false, true, true, false)),
-                                     (String ((Ascii (false, true, false,
-                                     false, true, false, true, false)),
-                                     (String ((Ascii (true, false, true,
-                                     false, false, true, true, false)),
-                                     (String ((Ascii (false, true, true,
-                                     false, false, true, true, false)),
-                                     (String ((Ascii (true, false, true,
-                                     false, false, true, true, false)),
-                                     (String ((Ascii (false, true, false,
-                                     false, true, true, true, false)),
-                                     (String ((Ascii (true, false, true,
-                                     false, false, true, true, false)),
-                                     (String ((Ascii (false, true, true,
-                                     true, false, true, true, false)),
-                                     (String ((Ascii (true, true, false,
-                                     false, false, true, true, false)),
-                                     (String ((Ascii (true, false, true,
-                                     false, false, true, true, false)),
-                                     (String ((Ascii (false, true, true,
-                                     false, false, false, true, false)),
-                                     (String ((Ascii (true, false, false,
-                                     true, false, true, true, false)),
-                                     (String ((Ascii (true, false, true,
-                                     false, false, true, true, false)),
-                                     (String ((Ascii (false, false, true,
-                                     true, false, true, true, false)),
-                                     (String ((Ascii (false, false, true,
-                                     false, false, true, true, false)),
-                                     EmptyString))))))))))))))))))))))))))))))))))))))))))))))))))))))))))))))))))))))))))))))))))))))))
-                                then Some
-                                       (if Z.eqb
-                                             (geti r (String ((Ascii (false,
-                                               true, true, false, false,
-                                               false, true, false)), (String
-                                               ((Ascii (true, true, true,
-                                               true, false, true, true,
-                                               false)), (String ((Ascii
-                                               (false, true, false, false,
-                                               true, true, true, false)),
-                                               (String ((Ascii (true, false,
-                                               true, false, false, true,
-                                               true, false)), (String ((Ascii
-                                               (true, false, false, true,
-                                               false, true, true, false)),
-                                               (String ((Ascii (true, true,
-                                               true, false, false, true,
-                                               true, false)), (String ((Ascii
-                                               (false, true, true, true,
-                                               false, true, true, false)),
-                                               (String ((Ascii (true, false,
-                                               true, false, false, false,
-                                               true, false)), (String ((Ascii
-                                               (false, false, false, true,
-                                               true, true, true, false)),
-                                               (String ((Ascii (true, true,
-                                               false, false, false, true,
-                                               true, false)), (String ((Ascii
-                                               (false, false, false, true,
-                                               false, true, true, false)),
-                                               (String ((Ascii (true, false,
-                                               false, false, false, true,
-                                               true, false)), (String ((Ascii
-                                               (false, true, true, true,
-                                               false, true, true, false)),
-                                               (String ((Ascii (true, true,
-                                               true, false, false, true,
-                                               true, false)), (String ((Ascii
-                                               (true, false, true, false,
-                                               false, true, true, false)),
-                                               (String ((Ascii (false, true,
-                                               false, false, true, false,
-                                               true, false)), (String ((Ascii
-                                               (true, false, true, false,
-                                               false, true, true, false)),
-                                               (String ((Ascii (false, true,
-                                               true, false, false, true,
-                                               true, false)), (String ((Ascii
-                                               (true, false, true, false,
-                                               false, true, true, false)),
-                                               (String ((Ascii (false, true,
-                                               false, false, true, true,
-                                               true, false)), (String ((Ascii
-                                               (true, false, true, false,
-                                               false, true, true, false)),
-                                               (String ((Ascii (false, true,
-                                               true, true, false, true, true,
-                                               false)), (String ((Ascii
-                                               (true, true, false, false,
-                                               false, true, true, false)),
-                                               (String ((Ascii (true, false,
-                                               true, false, false, true,
-                                               true, false)), (String ((Ascii
-                                               (true, false, false, true,
-                                               false, false, true, false)),
-                                               (String ((Ascii (false, true,
-                                               true, true, false, true, true,
-                                               false)), (String ((Ascii
-                                               (false, false, true, false,
-                                               false, true, true, false)),
-                                               (String ((Ascii (true, false,
-                                               false, true, false, true,
-                                               true, false)), (String ((Ascii
-                                               (true, true, false, false,
-                                               false, true, true, false)),
-                                               (String ((Ascii (true, false,
-                                               false, false, false, true,
-                                               true, false)), (String ((Ascii
-                                               (false, false, true, false,
-                                               true, true, true, false)),
-                                               (String ((Ascii (true, true,
-                                               true, true, false, true, true,
-                                               false)), (String ((Ascii
-                                               (false, true, false, false,
-                                               true, true, true, false)),
-                                               EmptyString)))))))))))))))))))))))))))))))))))))))))))))))))))))))))))))))))))
-                                             (Zpos (XI XH))
-                                        then spaces (S (S (S (S (S (S (S (S
-                                               (S (S (S (S (S (S (S
-                                               O)))))))))))))))
-                                        else alphaField
-                                               (gets r (String ((Ascii
-                                                 (false, true, true, false,
-                                                 false, false, true, false)),
-                                                 (String ((Ascii (true, true,
-                                                 true, true, false, true,
-                                                 true, false)), (String
-                                                 ((Ascii (false, true, false,
-                                                 false, true, true, true,
-                                                 false)), (String ((Ascii
-                                                 (true, false, true, false,
-                                                 false, true, true, false)),
-                                                 (String ((Ascii (true,
-                                                 false, false, true, false,
-                                                 true, true, false)), (String
-                                                 ((Ascii (true, true, true,
-                                                 false, false, true, true,
-                                                 false)), (String ((Ascii
-                                                 (false, true, true, true,
-                                                 false, true, true, false)),
-                                                 (String ((Ascii (true,
-                                                 false, true, false, false,
-                                                 false, true, false)),
-                                                 (String ((Ascii (false,
-                                                 false, false, true, true,
-                                                 true, true, false)), (String
-                                                 ((Ascii (true, true, false,
-                                                 false, false, true, true,
-                                                 false)), (String ((Ascii
-                                                 (false, false, false, true,
-                                                 false, true, true, false)),
-                                                 (String ((Ascii (true,
-                                                 false, false, false, false,
-                                                 true, true, false)), (String
-                                                 ((Ascii (false, true, true,
-                                                 true, false, true, true,
-                                                 false)), (String ((Ascii
-                                                 (true, true, true, false,
-                                                 false, true, true, false)),
-                                                 (String ((Ascii (true,
-                                                 false, true, false, false,
-                                                 true, true, false)), (String
-                                                 ((Ascii (false, true, false,
-                                                 false, true, false, true,
-                                                 false)), (String ((Ascii
-                                                 (true, false, true, false,
-                                                 false, true, true, false)),
-                                                 (String ((Ascii (false,
-                                                 true, true, false, false,
-                                                 true, true, false)), (String
-                                                 ((Ascii (true, false, true,
-                                                 false, false, true, true,
-                                                 false)), (String ((Ascii
-                                                 (false, true, false, false,
-                                                 true, true, true, false)),
-                                                 (String ((Ascii (true,
-                                                 false, true, false, false,
-                                                 true, true, false)), (String
-                                                 ((Ascii (false, true, true,
-                                                 true, false, true, true,
-                                                 false)), (String ((Ascii
-                                                 (true, true, false, false,
-                                                 false, true, true, false)),
-                                                 (String ((Ascii (true,
-                                                 false, true, false, false,
-                                                 true, true, false)),
-                                                 EmptyString)))))))))))))))))))))))))))))))))))))))))))))))))
-                                               (S (S (S (S (S (S (S (S (S (S
-                                               (S (S (S (S (S O))))))))))))))))
-                                else if eqb1 name (String ((Ascii (true,
-                                          false, false, false, false, false,
-                                          true, false)), (String ((Ascii
-                                          (false, false, true, false, false,
-                                          true, true, false)), (String
-                                          ((Ascii (false, false, true, false,
-                                          false, true, true, false)), (String
-                                          ((Ascii (true, false, true, false,
-                                          false, true, true, false)), (String
-                                          ((Ascii (false, true, true, true,
-                                          false, true, true, false)), (String
-                                          ((Ascii (false, false, true, false,
-                                          false, true, true, false)), (String
-                                          ((Ascii (true, false, false, false,
-                                          false, true, true, false)), (String
-                                          ((Ascii (true, false, false, true,
-                                          true, true, false, false)), (String
-                                          ((Ascii (false, false, false, true,
-                                          true, true, false, false)), (String
-                                          ((Ascii (false, true, true, true,
-                                          false, true, false, false)),
-                                          (String ((Ascii (true, true, false,
-                                          false, false, false, true, false)),
-                                          (String ((Ascii (true, true, true,
-                                          true, false, true, true, false)),
-                                          (String ((Ascii (false, true,
-                                          false, false, true, true, true,
-                                          false)), (String ((Ascii (false,
-                                          true, false, false, true, true,
-                                          true, false)), (String ((Ascii
-                                          (true, false, true, false, false,
-                                          true, true, false)), (String
-                                          ((Ascii (true, true, false, false,
-                                          false, true, true, false)), (String
-                                          ((Ascii (false, false, true, false,
-                                          true, true, true, false)), (String
-                                          ((Ascii (true, false, true, false,
-                                          false, true, true, false)), (String
-                                          ((Ascii (false, false, true, false,
-                                          false, true, true, false)), (String
-                                          ((Ascii (false, false, true, false,
-                                          false, false, true, false)),
-                                          (String ((Ascii (true, false,
-                                          false, false, false, true, true,
-                                          false)), (String ((Ascii (false,
-                                          false, true, false, true, true,
-                                          true, false)), (String ((Ascii
-                                          (true, false, false, false, false,
-                                          true, true, false)), (String
-                                          ((Ascii (false, true, true, false,
-                                          false, false, true, false)),
-                                          (String ((Ascii (true, false,
-                                          false, true, false, true, true,
-                                          false)), (String ((Ascii (true,
-                                          false, true, false, false, true,
-                                          true, false)), (String ((Ascii
-                                          (false, false, true, true, false,
-                                          true, true, false)), (String
-                                          ((Ascii (false, false, true, false,
-                                          false, true, true, false)),
-                                          EmptyString))))))))))))))))))))))))))))))))))))))))))))))))))))))))
-                                     then Some
-                                            (match gets r (String ((Ascii
-                                                     (true, false, false,
-                                                     true, false, true, true,
-                                                     false)), (String ((Ascii
-                                                     (true, false, false,
-                                                     false, false, true,
-                                                     true, false)), (String
-                                                     ((Ascii (false, false,
-                                                     true, false, true, true,
-                                                     true, false)), (String
-                                                     ((Ascii (true, true,
-                                                     false, false, false,
-                                                     false, true, false)),
-                                                     (String ((Ascii (true,
-                                                     true, true, true, false,
-                                                     true, true, false)),
-                                                     (String ((Ascii (false,
-                                                     true, false, false,
-                                                     true, true, true,
-                                                     false)), (String ((Ascii
-                                                     (false, true, false,
-                                                     false, true, true, true,
-                                                     false)), (String ((Ascii
-                                                     (true, false, true,
-                                                     false, false, true,
-                                                     true, false)), (String
-                                                     ((Ascii (true, true,
-                                                     false, false, false,
-                                                     true, true, false)),
-                                                     (String ((Ascii (false,
-                                                     false, true, false,
-                                                     true, true, true,
-                                                     false)), (String ((Ascii
-                                                     (true, false, true,
-                                                     false, false, true,
-                                                     true, false)), (String
-                                                     ((Ascii (false, false,
-                                                     true, false, false,
-                                                     true, true, false)),
-                                                     (String ((Ascii (false,
-                                                     false, true, false,
-                                                     false, false, true,
-                                                     false)), (String ((Ascii
-                                                     (true, false, false,
-                                                     false, false, true,
-                                                     true, false)), (String
-                                                     ((Ascii (false, false,
-                                                     true, false, true, true,
-                                                     true, false)), (String
-                                                     ((Ascii (true, false,
-                                                     false, false, false,
-                                                     true, true, false)),
-                                                     EmptyString)))))))))))))))))))))))))))))))) with
-                                             | [] ->
-                                               alphaField
-                                                 (gets r (String ((Ascii
-                                                   (true, true, false, false,
-                                                   false, false, true,
-                                                   false)), (String ((Ascii
-                                                   (true, true, true, true,
-                                                   false, true, true,
-                                                   false)), (String ((Ascii
-                                                   (false, true, false,
-                                                   false, true, true, true,
-                                                   false)), (String ((Ascii
-                                                   (false, true, false,
-                                                   false, true, true, true,
-                                                   false)), (String ((Ascii
-                                                   (true, false, true, false,
-                                                   false, true, true,
-                                                   false)), (String ((Ascii
-                                                   (true, true, false, false,
-                                                   false, true, true,
-                                                   false)), (String ((Ascii
-                                                   (false, false, true,
-                                                   false, true, true, true,
-                                                   false)), (String ((Ascii
-                                                   (true, false, true, false,
-                                                   false, true, true,
-                                                   false)), (String ((Ascii
-                                                   (false, false, true,
-                                                   false, false, true, true,
-                                                   false)), (String ((Ascii
-                                                   (false, false, true,
-                                                   false, false, false, true,
-                                                   false)), (String ((Ascii
-                                                   (true, false, false,
-                                                   false, false, true, true,
-                                                   false)), (String ((Ascii
-                                                   (false, false, true,
-                                                   false, true, true, true,
-                                                   false)), (String ((Ascii
-                                                   (true, false, false,
-                                                   false, false, true, true,
-                                                   false)),
-                                                   EmptyString)))))))))))))))))))))))))))
-                                                 (S (S (S (S (S (S (S (S (S
-                                                 (S (S (S (S (S (S (S (S (S
-                                                 (S (S (S (S (S (S (S (S (S
-                                                 (S (S
-                                                 O)))))))))))))))))))))))))))))
-                                             | n0 :: l ->
-                                               app
-                                                 (alphaField
-                                                   (gets r (String ((Ascii
-                                                     (true, true, false,
-                                                     false, false, false,
-                                                     true, false)), (String
-                                                     ((Ascii (true, true,
-                                                     true, true, false, true,
-                                                     true, false)), (String
-                                                     ((Ascii (false, true,
-                                                     false, false, true,
-                                                     true, true, false)),
-                                                     (String ((Ascii (false,
-                                                     true, false, false,
-                                                     true, true, true,
-                                                     false)), (String ((Ascii
-                                                     (true, false, true,
-                                                     false, false, true,
-                                                     true, false)), (String
-                                                     ((Ascii (true, true,
-                                                     false, false, false,
-                                                     true, true, false)),
-                                                     (String ((Ascii (false,
-                                                     false, true, false,
-                                                     true, true, true,
-                                                     false)), (String ((Ascii
-                                                     (true, false, true,
-                                                     false, false, true,
-                                                     true, false)), (String
-                                                     ((Ascii (false, false,
-                                                     true, false, false,
-                                                     true, true, false)),
-                                                     (String ((Ascii (false,
-                                                     false, true, false,
-                                                     false, false, true,
-                                                     false)), (String ((Ascii
-                                                     (true, false, false,
-                                                     false, false, true,
-                                                     true, false)), (String
-                                                     ((Ascii (false, false,
-                                                     true, false, true, true,
-                                                     true, false)), (String
-                                                     ((Ascii (true, false,
-                                                     false, false, false,
-                                                     true, true, false)),
-                                                     EmptyString)))))))))))))))))))))))))))
-                                                   (S (S (S (S (S (S (S (S (S
-                                                   (S (S (S (S (S (S (S (S (S
-                                                   (S (S (S (S (S (S (S (S (S
-                                                   (S (S
-                                                   O))))))))))))))))))))))))))))))
-                                                 (alphaField (n0 :: l) (S (S
-                                                   (S (S (S (S O))))))))
-                                     else None
-
-(** val render_seg : recval -> seg -> bytes **)
-
-let render_seg r = function
-| SLit bs -> bs
-| SAlpha (f, w) -> alphaField (gets r f) w
-| SNum (f, w) -> numericField (geti r f) w
-| SStr (f, w) -> stringField (gets r f) w
-| SRaw f -> gets r f
-| SItoa f -> itoa (geti r f)
-| SCustom (n0, _) ->
-  (match render_custom n0 r with
-   | Some bs -> bs
-   | None -> [])
-| SUnknown _ -> []
-
-(** val render : layout -> recval -> bytes **)
-
-let render l r =
-  concat (map (render_seg r) l.l_segs)
-
-(** val units : indexing -> bytes -> bytes list **)
-
-let units ix s =
-  match ix with
-  | IRune -> map snd (chunks s)
-  | IByte -> map (fun b -> b :: []) s
-
-(** val sub0 : bytes list -> nat -> nat -> bytes **)
-
-let sub0 us lo hi =
-  concat (firstn (sub hi lo) (skipn lo us))
-
-(** val two : n -> n -> n **)
-
-let two a b =
-  N.add
-    (N.mul (N.sub a (Npos (XO (XO (XO (XO (XI XH))))))) (Npos (XO (XI (XO
-      XH))))) (N.sub b (Npos (XO (XO (XO (XO (XI XH)))))))
-
-(** val valid_date : bytes -> bool **)
-
-let valid_date s = match s with
-| [] -> false
-| y1 :: l ->
-  (match l with
-   | [] -> false
-   | y2 :: l0 ->
-     (match l0 with
-      | [] -> false
-      | m1 :: l1 ->
-        (match l1 with
-         | [] -> false
-         | m2 :: l2 ->
-           (match l2 with
-            | [] -> false
-            | d1 :: l3 ->
-              (match l3 with
-               | [] -> false
-               | d2 :: l4 ->
-                 (match l4 with
-                  | [] ->
-                    (&&) (forallb is_digit s)
-                      (let yy = two y1 y2 in
-                       let mm = two m1 m2 in
-                       let dd = two d1 d2 in
-                       let year =
-                         if N.ltb yy (Npos (XI (XO (XI (XO (XO (XO XH)))))))
-                         then N.add (Npos (XO (XO (XO (XO (XI (XO (XI (XI (XI
-                                (XI XH))))))))))) yy
-                         else N.add (Npos (XO (XO (XI (XI (XO (XI (XI (XO (XI
-                                (XI XH))))))))))) yy
-                       in
-                       let leap =
-                         (||)
-                           ((&&)
-                             (N.eqb (N.modulo year (Npos (XO (XO XH)))) N0)
-                             (negb
-                               (N.eqb
-                                 (N.modulo year (Npos (XO (XO (XI (XO (XO (XI
-                                   XH)))))))) N0)))
-                           (N.eqb
-                             (N.modulo year (Npos (XO (XO (XO (XO (XI (XO (XO
-                               (XI XH)))))))))) N0)
-                       in
-                       let dim =
-                         if N.eqb mm (Npos (XO XH))
-                         then if leap
-                              then Npos (XI (XO (XI (XI XH))))
-                              else Npos (XO (XO (XI (XI XH))))
-                         else if (||)
-                                   ((||)
-                                     ((||) (N.eqb mm (Npos (XO (XO XH))))
-                                       (N.eqb mm (Npos (XO (XI XH)))))
-                                     (N.eqb mm (Npos (XI (XO (XO XH))))))
-                                   (N.eqb mm (Npos (XI (XI (XO XH)))))
-                              then Npos (XO (XI (XI (XI XH))))
-                              else Npos (XI (XI (XI (XI XH))))
-                       in
-                       (&&)
-                         ((&&)
-                           ((&&) (N.leb (Npos XH) mm)
-                             (N.leb mm (Npos (XO (XO (XI XH))))))
-                           (N.leb (Npos XH) dd)) (N.leb dd dim))
-                  | _ :: _ -> false))))))
-
-(** val valid_time : bytes -> bool **)
-
-let valid_time = function
-| [] -> false
-| h1 :: l ->
-  (match l with
-   | [] -> false
-   | h2 :: l0 ->
-     (match l0 with
-      | [] -> false
-      | m1 :: l1 ->
-        (match l1 with
-         | [] -> false
-         | m2 :: l2 ->
-           (match l2 with
-            | [] ->
-              (&&)
-                ((&&)
-                  ((&&)
-                    ((&&)
-                      ((&&) (N.leb (Npos (XO (XO (XO (XO (XI XH)))))) h1)
-                        (N.leb h1 (Npos (XO (XI (XO (XO (XI XH))))))))
-                      (is_digit h2))
-                    (N.leb (Npos (XO (XO (XO (XO (XI XH)))))) m1))
-                  (N.leb m1 (Npos (XI (XO (XI (XO (XI XH)))))))) (is_digit m2)
-            | _ :: _ -> false))))
-
-(** val validateSettlementDate : bytes -> bytes **)
-
-let validateSettlementDate s =
-  if (||) (bytes_eqb s (spaces (S (S (S O)))))
-       (negb (Nat.eqb (rune_count s) (S (S (S O)))))
-  then spaces (S (S (S O)))
-  else (match atoi_opt s with
-        | Some d ->
-          if (&&) (Z.leb (Zpos XH) d)
-               (Z.leb d (Zpos (XO (XI (XI (XI (XO (XI (XI (XO XH))))))))))
-          then s
-          else spaces (S (S (S O)))
-        | None -> spaces (S (S (S O))))
-
-(** val ten_zeros : bytes **)
-
-let ten_zeros =
-  zeros (S (S (S (S (S (S (S (S (S (S O))))))))))
-
-(** val trimRoutingNumberLeadingZero : bytes -> bytes **)
-
-let trimRoutingNumberLeadingZero s = match s with
-| [] -> trim s
-| n0 :: t ->
-  (match n0 with
-   | N0 -> trim s
-   | Npos p ->
-     (match p with
-      | XO p0 ->
-        (match p0 with
-         | XO p1 ->
-           (match p1 with
-            | XO p2 ->
-              (match p2 with
-               | XO p3 ->
-                 (match p3 with
-                  | XI p4 ->
-                    (match p4 with
-                     | XH ->
-                       if (&&)
-                            (Nat.eqb (rune_count s) (S (S (S (S (S (S (S (S
-                              (S (S O)))))))))))
-                            (negb (bytes_eqb s ten_zeros))
-                       then trim t
-                       else trim s
-                     | _ -> trim s)
-                  | _ -> trim s)
-               | _ -> trim s)
-            | _ -> trim s)
-         | _ -> trim s)
-      | _ -> trim s))
-
-(** val conv_str : string -> bytes -> bytes option **)
-
-let conv_str fn s =
-  if (||)
-       ((||)
-         (eqb1 fn (String ((Ascii (false, false, false, false, true, true,
-           true, false)), (String ((Ascii (true, false, false, false, false,
-           true, true, false)), (String ((Ascii (false, true, false, false,
-           true, true, true, false)), (String ((Ascii (true, true, false,
-           false, true, true, true, false)), (String ((Ascii (true, false,
-           true, false, false, true, true, false)), (String ((Ascii (true,
-           true, false, false, true, false, true, false)), (String ((Ascii
-           (false, false, true, false, true, true, true, false)), (String
-           ((Ascii (false, true, false, false, true, true, true, false)),
-           (String ((Ascii (true, false, false, true, false, true, true,
-           false)), (String ((Ascii (false, true, true, true, false, true,
-           true, false)), (String ((Ascii (true, true, true, false, false,
-           true, true, false)), (String ((Ascii (false, true, true, false,
-           false, false, true, false)), (String ((Ascii (true, false, false,
-           true, false, true, true, false)), (String ((Ascii (true, false,
-           true, false, false, true, true, false)), (String ((Ascii (false,
-           false, true, true, false, true, true, false)), (String ((Ascii
-           (false, false, true, false, false, true, true, false)),
-           EmptyString)))))))))))))))))))))))))))))))))
-         (eqb1 fn (String ((Ascii (true, true, false, false, true, true,
-           true, false)), (String ((Ascii (false, false, true, false, true,
-           true, true, false)), (String ((Ascii (false, true, false, false,
-           true, true, true, false)), (String ((Ascii (true, false, false,
-           true, false, true, true, false)), (String ((Ascii (false, true,
-           true, true, false, true, true, false)), (String ((Ascii (true,
-           true, true, false, false, true, true, false)), (String ((Ascii
-           (true, true, false, false, true, true, true, false)), (String
-           ((Ascii (false, true, true, true, false, true, false, false)),
-           (String ((Ascii (false, false, true, false, true, false, true,
-           false)), (String ((Ascii (false, true, false, false, true, true,
-           true, false)), (String ((Ascii (true, false, false, true, false,
-           true, true, false)), (String ((Ascii (true, false, true, true,
-           false, true, true, false)), (String ((Ascii (true, true, false,
-           false, true, false, true, false)), (String ((Ascii (false, false,
-           false, false, true, true, true, false)), (String ((Ascii (true,
-           false, false, false, false, true, true, false)), (String ((Ascii
-           (true, true, false, false, false, true, true, false)), (String
-           ((Ascii (true, false, true, false, false, true, true, false)),
-           EmptyString))))))))))))))))))))))))))))))))))))
-       (eqb1 fn (String ((Ascii (false, false, false, false, true, true,
-         true, false)), (String ((Ascii (true, false, false, false, false,
-         true, true, false)), (String ((Ascii (false, true, false, false,
-         true, true, true, false)), (String ((Ascii (true, true, false,
-         false, true, true, true, false)), (String ((Ascii (true, false,
-         true, false, false, true, true, false)), (String ((Ascii (true,
-         true, false, false, true, false, true, false)), (String ((Ascii
-         (false, false, true, false, true, true, true, false)), (String
-         ((Ascii (false, true, false, false, true, true, true, false)),
-         (String ((Ascii (true, false, false, true, false, true, true,
-         false)), (String ((Ascii (false, true, true, true, false, true,
-         true, false)), (String ((Ascii (true, true, true, false, false,
-         true, true, false)), (String ((Ascii (false, true, true, false,
-         false, false, true, false)), (String ((Ascii (true, false, false,
-         true, false, true, true, false)), (String ((Ascii (true, false,
-         true, false, false, true, true, false)), (String ((Ascii (false,
-         false, true, true, false, true, true, false)), (String ((Ascii
-         (false, false, true, false, false, true, true, false)), (String
-         ((Ascii (true, true, true, false, true, false, true, false)),
-         (String ((Ascii (true, false, false, true, false, true, true,
-         false)), (String ((Ascii (false, false, true, false, true, true,
-         true, false)), (String ((Ascii (false, false, false, true, false,
-         true, true, false)), (String ((Ascii (true, true, true, true, false,
-         false, true, false)), (String ((Ascii (false, false, false, false,
-         true, true, true, false)), (String ((Ascii (false, false, true,
-         false, true, true, true, false)), (String ((Ascii (true, true,
-         false, false, true, true, true, false)),
-         EmptyString)))))))))))))))))))))))))))))))))))))))))))))))))
-  then Some (trim s)
-  else if eqb1 fn (String ((Ascii (false, false, true, false, true, true,
-            true, false)), (String ((Ascii (false, true, false, false, true,
-            true, true, false)), (String ((Ascii (true, false, false, true,
-            false, true, true, false)), (String ((Ascii (true, false, true,
-            true, false, true, true, false)), (String ((Ascii (false, true,
-            false, false, true, false, true, false)), (String ((Ascii (true,
-            true, true, true, false, true, true, false)), (String ((Ascii
-            (true, false, true, false, true, true, true, false)), (String
-            ((Ascii (false, false, true, false, true, true, true, false)),
-            (String ((Ascii (true, false, false, true, false, true, true,
-            false)), (String ((Ascii (false, true, true, true, false, true,
-            true, false)), (String ((Ascii (true, true, true, false, false,
-            true, true, false)), (String ((Ascii (false, true, true, true,
-            false, false, true, false)), (String ((Ascii (true, false, true,
-            false, true, true, true, false)), (String ((Ascii (true, false,
-            true, true, false, true, true, false)), (String ((Ascii (false,
-            true, false, false, false, true, true, false)), (String ((Ascii
-            (true, false, true, false, false, true, true, false)), (String
-            ((Ascii (false, true, false, false, true, true, true, false)),
-            (String ((Ascii (false, false, true, true, false, false, true,
-            false)), (String ((Ascii (true, false, true, false, false, true,
-            true, false)), (String ((Ascii (true, false, false, false, false,
-            true, true, false)), (String ((Ascii (false, false, true, false,
-            false, true, true, false)), (String ((Ascii (true, false, false,
-            true, false, true, true, false)), (String ((Ascii (false, true,
-            true, true, false, true, true, false)), (String ((Ascii (true,
-            true, true, false, false, true, true, false)), (String ((Ascii
-            (false, true, false, true, true, false, true, false)), (String
-            ((Ascii (true, false, true, false, false, true, true, false)),
-            (String ((Ascii (false, true, false, false, true, true, true,
-            false)), (String ((Ascii (true, true, true, true, false, true,
-            true, false)),
-            EmptyString))))))))))))))))))))))))))))))))))))))))))))))))))))))))
-       then Some (trimRoutingNumberLeadingZero s)
-       else if eqb1 fn (String ((Ascii (false, true, true, false, true, true,
-                 true, false)), (String ((Ascii (true, false, false, false,
-                 false, true, true, false)), (String ((Ascii (false, false,
-                 true, true, false, true, true, false)), (String ((Ascii
-                 (true, false, false, true, false, true, true, false)),
-                 (String ((Ascii (false, false, true, false, false, true,
-                 true, false)), (String ((Ascii (true, false, false, false,
-                 false, true, true, false)), (String ((Ascii (false, false,
-                 true, false, true, true, true, false)), (String ((Ascii
-                 (true, false, true, false, false, true, true, false)),
-                 (String ((Ascii (true, true, false, false, true, false,
-                 true, false)), (String ((Ascii (true, false, false, true,
-                 false, true, true, false)), (String ((Ascii (true, false,
-                 true, true, false, true, true, false)), (String ((Ascii
-                 (false, false, false, false, true, true, true, false)),
-                 (String ((Ascii (false, false, true, true, false, true,
-                 true, false)), (String ((Ascii (true, false, true, false,
-                 false, true, true, false)), (String ((Ascii (false, false,
-                 true, false, false, false, true, false)), (String ((Ascii
-                 (true, false, false, false, false, true, true, false)),
-                 (String ((Ascii (false, false, true, false, true, true,
-                 true, false)), (String ((Ascii (true, false, true, false,
-                 false, true, true, false)),
-                 EmptyString))))))))))))))))))))))))))))))))))))
-            then Some (if valid_date s then s else [])
-            else if eqb1 fn (String ((Ascii (false, true, true, false, true,
-                      true, true, false)), (String ((Ascii (true, false,
-                      false, false, false, true, true, false)), (String
-                      ((Ascii (false, false, true, true, false, true, true,
-                      false)), (String ((Ascii (true, false, false, true,
-                      false, true, true, false)), (String ((Ascii (false,
-                      false, true, false, false, true, true, false)), (String
-                      ((Ascii (true, false, false, false, false, true, true,
-                      false)), (String ((Ascii (false, false, true, false,
-                      true, true, true, false)), (String ((Ascii (true,
-                      false, true, false, false, true, true, false)), (String
-                      ((Ascii (true, true, false, false, true, false, true,
-                      false)), (String ((Ascii (true, false, false, true,
-                      false, true, true, false)), (String ((Ascii (true,
-                      false, true, true, false, true, true, false)), (String
-                      ((Ascii (false, false, false, false, true, true, true,
-                      false)), (String ((Ascii (false, false, true, true,
-                      false, true, true, false)), (String ((Ascii (true,
-                      false, true, false, false, true, true, false)), (String
-                      ((Ascii (false, false, true, false, true, false, true,
-                      false)), (String ((Ascii (true, false, false, true,
-                      false, true, true, false)), (String ((Ascii (true,
-                      false, true, true, false, true, true, false)), (String
-                      ((Ascii (true, false, true, false, false, true, true,
-                      false)), EmptyString))))))))))))))))))))))))))))))))))))
-                 then Some (if valid_time s then s else [])
-                 else if eqb1 fn (String ((Ascii (false, true, true, false,
-                           true, true, true, false)), (String ((Ascii (true,
-                           false, false, false, false, true, true, false)),
-                           (String ((Ascii (false, false, true, true, false,
-                           true, true, false)), (String ((Ascii (true, false,
-                           false, true, false, true, true, false)), (String
-                           ((Ascii (false, false, true, false, false, true,
-                           true, false)), (String ((Ascii (true, false,
-                           false, false, false, true, true, false)), (String
-                           ((Ascii (false, false, true, false, true, true,
-                           true, false)), (String ((Ascii (true, false, true,
-                           false, false, true, true, false)), (String ((Ascii
-                           (true, true, false, false, true, false, true,
-                           false)), (String ((Ascii (true, false, true,
-                           false, false, true, true, false)), (String ((Ascii
-                           (false, false, true, false, true, true, true,
-                           false)), (String ((Ascii (false, false, true,
-                           false, true, true, true, false)), (String ((Ascii
-                           (false, false, true, true, false, true, true,
-                           false)), (String ((Ascii (true, false, true,
-                           false, false, true, true, false)), (String ((Ascii
-                           (true, false, true, true, false, true, true,
-                           false)), (String ((Ascii (true, false, true,
-                           false, false, true, true, false)), (String ((Ascii
-                           (false, true, true, true, false, true, true,
-                           false)), (String ((Ascii (false, false, true,
-                           false, true, true, true, false)), (String ((Ascii
-                           (false, false, true, false, false, false, true,
-                           false)), (String ((Ascii (true, false, false,
-                           false, false, true, true, false)), (String ((Ascii
-                           (false, false, true, false, true, true, true,
-                           false)), (String ((Ascii (true, false, true,
-                           false, false, true, true, false)),
-                           EmptyString))))))))))))))))))))))))))))))))))))))))))))
-                      then Some (validateSettlementDate s)
-                      else None
-
-(** val conv_chain : string list -> bytes -> bytes option **)
-
-let rec conv_chain chain s =
-  match chain with
-  | [] -> Some s
-  | fn :: rest ->
-    (match conv_chain rest s with
-     | Some s' -> conv_str fn s'
-     | None -> None)
-
-(** val conv_value : string list -> bytes -> value option **)
-
-let conv_value chain s =
-  match chain with
-  | [] -> Some (VS s)
-  | fn :: rest ->
-    if eqb1 fn (String ((Ascii (false, false, false, false, true, true, true,
-         false)), (String ((Ascii (true, false, false, false, false, true,
-         true, false)), (String ((Ascii (false, true, false, false, true,
-         true, true, false)), (String ((Ascii (true, true, false, false,
-         true, true, true, false)), (String ((Ascii (true, false, true,
-         false, false, true, true, false)), (String ((Ascii (false, true,
-         true, true, false, false, true, false)), (String ((Ascii (true,
-         false, true, false, true, true, true, false)), (String ((Ascii
-         (true, false, true, true, false, true, true, false)), (String
-         ((Ascii (false, true, true, false, false, false, true, false)),
-         (String ((Ascii (true, false, false, true, false, true, true,
-         false)), (String ((Ascii (true, false, true, false, false, true,
-         true, false)), (String ((Ascii (false, false, true, true, false,
-         true, true, false)), (String ((Ascii (false, false, true, false,
-         false, true, true, false)), EmptyString))))))))))))))))))))))))))
-    then (match conv_chain rest s with
-          | Some s' -> Some (VI (parseNumField s'))
-          | None -> None)
-    else (match conv_chain chain s with
-          | Some s' -> Some (VS s')
-          | None -> None)
-
-(** val parse_cut : bytes list -> cut -> (string * value) list **)
-
-let parse_cut us c =
-  match c.c_const with
-  | Some bs -> (c.c_field, (VS bs)) :: []
-  | None ->
-    if eqb1 c.c_field EmptyString
-    then []
-    else (match conv_value c.c_conv (sub0 us c.c_lo c.c_hi) with
-          | Some v -> (c.c_field, v) :: []
-          | None -> [])
-
-(** val parse : layout -> bytes -> recval **)
-
-let parse l line =
-  if Nat.eqb (rune_count line) (S (S (S (S (S (S (S (S (S (S (S (S (S (S (S
-       (S (S (S (S (S (S (S (S (S (S (S (S (S (S (S (S (S (S (S (S (S (S (S
-       (S (S (S (S (S (S (S (S (S (S (S (S (S (S (S (S (S (S (S (S (S (S (S
-       (S (S (S (S (S (S (S (S (S (S (S (S (S (S (S (S (S (S (S (S (S (S (S
-       (S (S (S (S (S (S (S (S (S (S
-       O))))))))))))))))))))))))))))))))))))))))))))))))))))))))))))))))))))))))))))))))))))))))))))))
-  then flat_map (parse_cut (units l.l_ix line)) l.l_cuts
+type node =
+| File of bytes
+| Dir of bytes * node list
+
+type path = bytes list
+
+(** val walk_node : bool -> path -> node -> path list **)
+
+let rec walk_node sub prefix = function
+| File name -> (app prefix (name :: [])) :: []
+| Dir (name, children) ->
+  if sub
+  then let rec go = function
+       | [] -> []
+       | c :: t -> app (walk_node sub (app prefix (name :: [])) c) (go t)
+       in go children
   else []
 
-(** val overlay : recval -> recval -> recval **)
+(** val walk : bool -> path -> node list -> path list **)
 
-let overlay new0 old =
-  app (rev new0) old
+let walk sub prefix items =
+  flat_map (walk_node sub prefix) items
 
-(** val l_ADVBatchControl : layout **)
+(** val walk_node_unfixed : bool -> path -> node -> path list * bool **)
 
-let l_ADVBatchControl =
-  { l_name = (String ((Ascii (true, false, false, false, false, false, true,
-    false)), (String ((Ascii (false, false, true, false, false, false, true,
-    false)), (String ((Ascii (false, true, true, false, true, false, true,
-    false)), (String ((Ascii (false, true, false, false, false, false, true,
-    false)), (String ((Ascii (true, false, false, false, false, true, true,
-    false)), (String ((Ascii (false, false, true, false, true, true, true,
-    false)), (String ((Ascii (true, true, false, false, false, true, true,
-    false)), (String ((Ascii (false, false, false, true, false, true, true,
-    false)), (String ((Ascii (true, true, false, false, false, false, true,
-    false)), (String ((Ascii (true, true, true, true, false, true, true,
-    false)), (String ((Ascii (false, true, true, true, false, true, true,
-    false)), (String ((Ascii (false, false, true, false, true, true, true,
-    false)), (String ((Ascii (false, true, false, false, true, true, true,
-    false)), (String ((Ascii (true, true, true, true, false, true, true,
-    false)), (String ((Ascii (false, false, true, true, false, true, true,
-    false)), EmptyString)))))))))))))))))))))))))))))); l_ix = IRune;
-    l_segs = ((SLit ((Npos (XO (XO (XO (XI (XI XH)))))) :: [])) :: ((SItoa
-    (String ((Ascii (true, true, false, false, true, false, true, false)),
-    (String ((Ascii (true, false, true, false, false, true, true, false)),
-    (String ((Ascii (false, true, false, false, true, true, true, false)),
-    (String ((Ascii (false, true, true, false, true, true, true, false)),
-    (String ((Ascii (true, false, false, true, false, true, true, false)),
-    (String ((Ascii (true, true, false, false, false, true, true, false)),
-    (String ((Ascii (true, false, true, false, false, true, true, false)),
-    (String ((Ascii (true, true, false, false, false, false, true, false)),
-    (String ((Ascii (false, false, true, true, false, true, true, false)),
-    (String ((Ascii (true, false, false, false, false, true, true, false)),
-    (String ((Ascii (true, true, false, false, true, true, true, false)),
-    (String ((Ascii (true, true, false, false, true, true, true, false)),
-    (String ((Ascii (true, true, false, false, false, false, true, false)),
-    (String ((Ascii (true, true, true, true, false, true, true, false)),
-    (String ((Ascii (false, false, true, false, false, true, true, false)),
-    (String ((Ascii (true, false, true, false, false, true, true, false)),
-    EmptyString))))))))))))))))))))))))))))))))) :: ((SNum ((String ((Ascii
-    (true, false, true, false, false, false, true, false)), (String ((Ascii
-    (false, true, true, true, false, true, true, false)), (String ((Ascii
-    (false, false, true, false, true, true, true, false)), (String ((Ascii
-    (false, true, false, false, true, true, true, false)), (String ((Ascii
-    (true, false, false, true, true, true, true, false)), (String ((Ascii
-    (true, false, false, false, false, false, true, false)), (String ((Ascii
-    (false, false, true, false, false, true, true, false)), (String ((Ascii
-    (false, false, true, false, false, true, true, false)), (String ((Ascii
-    (true, false, true, false, false, true, true, false)), (String ((Ascii
-    (false, true, true, true, false, true, true, false)), (String ((Ascii
-    (false, false, true, false, false, true, true, false)), (String ((Ascii
-    (true, false, false, false, false, true, true, false)), (String ((Ascii
-    (true, true, false, false, false, false, true, false)), (String ((Ascii
-    (true, true, true, true, false, true, true, false)), (String ((Ascii
-    (true, false, true, false, true, true, true, false)), (String ((Ascii
-    (false, true, true, true, false, true, true, false)), (String ((Ascii
-    (false, false, true, false, true, true, true, false)),
-    EmptyString)))))))))))))))))))))))))))))))))), (S (S (S (S (S (S
-    O)))))))) :: ((SNum ((String ((Ascii (true, false, true, false, false,
-    false, true, false)), (String ((Ascii (false, true, true, true, false,
-    true, true, false)), (String ((Ascii (false, false, true, false, true,
-    true, true, false)), (String ((Ascii (false, true, false, false, true,
-    true, true, false)), (String ((Ascii (true, false, false, true, true,
-    true, true, false)), (String ((Ascii (false, false, false, true, false,
-    false, true, false)), (String ((Ascii (true, false, false, false, false,
-    true, true, false)), (String ((Ascii (true, true, false, false, true,
-    true, true, false)), (String ((Ascii (false, false, false, true, false,
-    true, true, false)), EmptyString)))))))))))))))))), (S (S (S (S (S (S (S
-    (S (S (S O)))))))))))) :: ((SNum ((String ((Ascii (false, false, true,
-    false, true, false, true, false)), (String ((Ascii (true, true, true,
-    true, false, true, true, false)), (String ((Ascii (false, false, true,
-    false, true, true, true, false)), (String ((Ascii (true, false, false,
-    false, false, true, true, false)), (String ((Ascii (false, false, true,
-    true, false, true, true, false)), (String ((Ascii (false, false, true,
-    false, false, false, true, false)), (String ((Ascii (true, false, true,
-    false, false, true, true, false)), (String ((Ascii (false, true, false,
-    false, false, true, true, false)), (String ((Ascii (true, false, false,
-    true, false, true, true, false)), (String ((Ascii (false, false, true,
-    false, true, true, true, false)), (String ((Ascii (true, false, true,
-    false, false, false, true, false)), (String ((Ascii (false, true, true,
-    true, false, true, true, false)), (String ((Ascii (false, false, true,
-    false, true, true, true, false)), (String ((Ascii (false, true, false,
-    false, true, true, true, false)), (String ((Ascii (true, false, false,
-    true, true, true, true, false)), (String ((Ascii (false, false, true,
-    false, false, false, true, false)), (String ((Ascii (true, true, true,
-    true, false, true, true, false)), (String ((Ascii (false, false, true,
-    true, false, true, true, false)), (String ((Ascii (false, false, true,
-    true, false, true, true, false)), (String ((Ascii (true, false, false,
-    false, false, true, true, false)), (String ((Ascii (false, true, false,
-    false, true, true, true, false)), (String ((Ascii (true, false, false,
-    false, false, false, true, false)), (String ((Ascii (true, false, true,
-    true, false, true, true, false)), (String ((Ascii (true, true, true,
-    true, false, true, true, false)), (String ((Ascii (true, false, true,
-    false, true, true, true, false)), (String ((Ascii (false, true, true,
-    true, false, true, true, false)), (String ((Ascii (false, false, true,
-    false, true, true, true, false)),
-    EmptyString)))))))))))))))))))))))))))))))))))))))))))))))))))))), (S (S
-    (S (S (S (S (S (S (S (S (S (S (S (S (S (S (S (S (S (S
-    O)))))))))))))))))))))) :: ((SNum ((String ((Ascii (false, false, true,
-    false, true, false, true, false)), (String ((Ascii (true, true, true,
-    true, false, true, true, false)), (String ((Ascii (false, false, true,
-    false, true, true, true, false)), (String ((Ascii (true, false, false,
-    false, false, true, true, false)), (String ((Ascii (false, false, true,
-    true, false, true, true, false)), (String ((Ascii (true, true, false,
-    false, false, false, true, false)), (String ((Ascii (false, true, false,
-    false, true, true, true, false)), (String ((Ascii (true, false, true,
-    false, false, true, true, false)), (String ((Ascii (false, false, true,
-    false, false, true, true, false)), (String ((Ascii (true, false, false,
-    true, false, true, true, false)), (String ((Ascii (false, false, true,
-    false, true, true, true, false)), (String ((Ascii (true, false, true,
-    false, false, false, true, false)), (String ((Ascii (false, true, true,
-    true, false, true, true, false)), (String ((Ascii (false, false, true,
-    false, true, true, true, false)), (String ((Ascii (false, true, false,
-    false, true, true, true, false)), (String ((Ascii (true, false, false,
-    true, true, true, true, false)), (String ((Ascii (false, false, true,
-    false, false, false, true, false)), (String ((Ascii (true, true, true,
-    true, false, true, true, false)), (String ((Ascii (false, false, true,
-    true, false, true, true, false)), (String ((Ascii (false, false, true,
-    true, false, true, true, false)), (String ((Ascii (true, false, false,
-    false, false, true, true, false)), (String ((Ascii (false, true, false,
-    false, true, true, true, false)), (String ((Ascii (true, false, false,
-    false, false, false, true, false)), (String ((Ascii (true, false, true,
-    true, false, true, true, false)), (String ((Ascii (true, true, true,
-    true, false, true, true, false)), (String ((Ascii (true, false, true,
-    false, true, true, true, false)), (String ((Ascii (false, true, true,
-    true, false, true, true, false)), (String ((Ascii (false, false, true,
-    false, true, true, true, false)),
-    EmptyString)))))))))))))))))))))))))))))))))))))))))))))))))))))))), (S
-    (S (S (S (S (S (S (S (S (S (S (S (S (S (S (S (S (S (S (S
-    O)))))))))))))))))))))) :: ((SAlpha ((String ((Ascii (true, false, false,
-    false, false, false, true, false)), (String ((Ascii (true, true, false,
-    false, false, false, true, false)), (String ((Ascii (false, false, false,
-    true, false, false, true, false)), (String ((Ascii (true, true, true,
-    true, false, false, true, false)), (String ((Ascii (false, false, false,
-    false, true, true, true, false)), (String ((Ascii (true, false, true,
-    false, false, true, true, false)), (String ((Ascii (false, true, false,
-    false, true, true, true, false)), (String ((Ascii (true, false, false,
-    false, false, true, true, false)), (String ((Ascii (false, false, true,
-    false, true, true, true, false)), (String ((Ascii (true, true, true,
-    true, false, true, true, false)), (String ((Ascii (false, true, false,
-    false, true, true, true, false)), (String ((Ascii (false, false, true,
-    false, false, false, true, false)), (String ((Ascii (true, false, false,
-    false, false, true, true, false)), (String ((Ascii (false, false, true,
-    false, true, true, true, false)), (String ((Ascii (true, false, false,
-    false, false, true, true, false)),
-    EmptyString)))))))))))))))))))))))))))))), (S (S (S (S (S (S (S (S (S (S
-    (S (S (S (S (S (S (S (S (S O))))))))))))))))))))) :: ((SStr ((String
-    ((Ascii (true, true, true, true, false, false, true, false)), (String
-    ((Ascii (false, false, true, false, false, false, true, false)), (String
-    ((Ascii (false, true, true, false, false, false, true, false)), (String
-    ((Ascii (true, false, false, true, false, false, true, false)), (String
-    ((Ascii (true, false, false, true, false, false, true, false)), (String
-    ((Ascii (false, false, true, false, false, true, true, false)), (String
-    ((Ascii (true, false, true, false, false, true, true, false)), (String
-    ((Ascii (false, true, true, true, false, true, true, false)), (String
-    ((Ascii (false, false, true, false, true, true, true, false)), (String
-    ((Ascii (true, false, false, true, false, true, true, false)), (String
-    ((Ascii (false, true, true, false, false, true, true, false)), (String
-    ((Ascii (true, false, false, true, false, true, true, false)), (String
-    ((Ascii (true, true, false, false, false, true, true, false)), (String
-    ((Ascii (true, false, false, false, false, true, true, false)), (String
-    ((Ascii (false, false, true, false, true, true, true, false)), (String
-    ((Ascii (true, false, false, true, false, true, true, false)), (String
-    ((Ascii (true, true, true, true, false, true, true, false)), (String
-    ((Ascii (false, true, true, true, false, true, true, false)),
-    EmptyString)))))))))))))))))))))))))))))))))))), (S (S (S (S (S (S (S (S
-    O)))))))))) :: ((SNum ((String ((Ascii (false, true, false, false, false,
-    false, true, false)), (String ((Ascii (true, false, false, false, false,
-    true, true, false)), (String ((Ascii (false, false, true, false, true,
-    true, true, false)), (String ((Ascii (true, true, false, false, false,
-    true, true, false)), (String ((Ascii (false, false, false, true, false,
-    true, true, false)), (String ((Ascii (false, true, true, true, false,
-    false, true, false)), (String ((Ascii (true, false, true, false, true,
-    true, true, false)), (String ((Ascii (true, false, true, true, false,
-    true, true, false)), (String ((Ascii (false, true, false, false, false,
-    true, true, false)), (String ((Ascii (true, false, true, false, false,
-    true, true, false)), (String ((Ascii (false, true, false, false, true,
-    true, true, false)), EmptyString)))))))))))))))))))))), (S (S (S (S (S (S
-    (S O))))))))) :: []))))))))); l_cuts =
-    ((mkcut O (S O) EmptyString []) :: ((mkcut (S O) (S (S (S (S O))))
-                                          (String ((Ascii (true, true, false,
-                                          false, true, false, true, false)),
-                                          (String ((Ascii (true, false, true,
-                                          false, false, true, true, false)),
-                                          (String ((Ascii (false, true,
-                                          false, false, true, true, true,
-                                          false)), (String ((Ascii (false,
-                                          true, true, false, true, true,
-                                          true, false)), (String ((Ascii
-                                          (true, false, false, true, false,
-                                          true, true, false)), (String
-                                          ((Ascii (true, true, false, false,
-                                          false, true, true, false)), (String
-                                          ((Ascii (true, false, true, false,
-                                          false, true, true, false)), (String
-                                          ((Ascii (true, true, false, false,
-                                          false, false, true, false)),
-                                          (String ((Ascii (false, false,
-                                          true, true, false, true, true,
-                                          false)), (String ((Ascii (true,
-                                          false, false, false, false, true,
-                                          true, false)), (String ((Ascii
-                                          (true, true, false, false, true,
-                                          true, true, false)), (String
-                                          ((Ascii (true, true, false, false,
-                                          true, true, true, false)), (String
-                                          ((Ascii (true, true, false, false,
-                                          false, false, true, false)),
-                                          (String ((Ascii (true, true, true,
-                                          true, false, true, true, false)),
-                                          (String ((Ascii (false, false,
-                                          true, false, false, true, true,
-                                          false)), (String ((Ascii (true,
-                                          false, true, false, false, true,
-                                          true, false)),
-                                          EmptyString))))))))))))))))))))))))))))))))
-                                          ((String ((Ascii (false, false,
-                                          false, false, true, true, true,
-                                          false)), (String ((Ascii (true,
-                                          false, false, false, false, true,
-                                          true, false)), (String ((Ascii
-                                          (false, true, false, false, true,
-                                          true, true, false)), (String
-                                          ((Ascii (true, true, false, false,
-                                          true, true, true, false)), (String
-                                          ((Ascii (true, false, true, false,
-                                          false, true, true, false)), (String
-                                          ((Ascii (false, true, true, true,
-                                          false, false, true, false)),
-                                          (String ((Ascii (true, false, true,
-                                          false, true, true, true, false)),
-                                          (String ((Ascii (true, false, true,
-                                          true, false, true, true, false)),
-                                          (String ((Ascii (false, true, true,
-                                          false, false, false, true, false)),
-                                          (String ((Ascii (true, false,
-                                          false, true, false, true, true,
-                                          false)), (String ((Ascii (true,
-                                          false, true, false, false, true,
-                                          true, false)), (String ((Ascii
-                                          (false, false, true, true, false,
-                                          true, true, false)), (String
-                                          ((Ascii (false, false, true, false,
-                                          false, true, true, false)),
-                                          EmptyString)))))))))))))))))))))))))) :: [])) :: (
-    (mkcut (S (S (S (S O)))) (S (S (S (S (S (S (S (S (S (S O))))))))))
-      (String ((Ascii (true, false, true, false, false, false, true, false)),
-      (String ((Ascii (false, true, true, true, false, true, true, false)),
-      (String ((Ascii (false, false, true, false, true, true, true, false)),
-      (String ((Ascii (false, true, false, false, true, true, true, false)),
-      (String ((Ascii (true, false, false, true, true, true, true, false)),
-      (String ((Ascii (true, false, false, false, false, false, true,
-      false)), (String ((Ascii (false, false, true, false, false, true, true,
-      false)), (String ((Ascii (false, false, true, false, false, true, true,
-      false)), (String ((Ascii (true, false, true, false, false, true, true,
-      false)), (String ((Ascii (false, true, true, true, false, true, true,
-      false)), (String ((Ascii (false, false, true, false, false, true, true,
-      false)), (String ((Ascii (true, false, false, false, false, true, true,
-      false)), (String ((Ascii (true, true, false, false, false, false, true,
-      false)), (String ((Ascii (true, true, true, true, false, true, true,
-      false)), (String ((Ascii (true, false, true, false, true, true, true,
-      false)), (String ((Ascii (false, true, true, true, false, true, true,
-      false)), (String ((Ascii (false, false, true, false, true, true, true,
-      false)), EmptyString)))))))))))))))))))))))))))))))))) ((String ((Ascii
-      (false, false, false, false, true, true, true, false)), (String ((Ascii
-      (true, false, false, false, false, true, true, false)), (String ((Ascii
-      (false, true, false, false, true, true, true, false)), (String ((Ascii
-      (true, true, false, false, true, true, true, false)), (String ((Ascii
-      (true, false, true, false, false, true, true, false)), (String ((Ascii
-      (false, true, true, true, false, false, true, false)), (String ((Ascii
-      (true, false, true, false, true, true, true, false)), (String ((Ascii
-      (true, false, true, true, false, true, true, false)), (String ((Ascii
-      (false, true, true, false, false, false, true, false)), (String ((Ascii
-      (true, false, false, true, false, true, true, false)), (String ((Ascii
-      (true, false, true, false, false, true, true, false)), (String ((Ascii
-      (false, false, true, true, false, true, true, false)), (String ((Ascii
-      (false, false, true, false, false, true, true, false)),
-      EmptyString)))))))))))))))))))))))))) :: [])) :: ((mkcut (S (S (S (S (S
-                                                          (S (S (S (S (S
-                                                          O)))))))))) (S (S
-                                                          (S (S (S (S (S (S
-                                                          (S (S (S (S (S (S
-                                                          (S (S (S (S (S (S
-                                                          O))))))))))))))))))))
-                                                          (String ((Ascii
-                                                          (true, false, true,
-                                                          false, false,
-                                                          false, true,
-                                                          false)), (String
-                                                          ((Ascii (false,
-                                                          true, true, true,
-                                                          false, true, true,
-                                                          false)), (String
-                                                          ((Ascii (false,
-                                                          false, true, false,
-                                                          true, true, true,
-                                                          false)), (String
-                                                          ((Ascii (false,
-                                                          true, false, false,
-                                                          true, true, true,
-                                                          false)), (String
-                                                          ((Ascii (true,
-                                                          false, false, true,
-                                                          true, true, true,
-                                                          false)), (String
-                                                          ((Ascii (false,
-                                                          false, false, true,
-                                                          false, false, true,
-                                                          false)), (String
-                                                          ((Ascii (true,
-                                                          false, false,
-                                                          false, false, true,
-                                                          true, false)),
-                                                          (String ((Ascii
-                                                          (true, true, false,
-                                                          false, true, true,
-                                                          true, false)),
-                                                          (String ((Ascii
-                                                          (false, false,
-                                                          false, true, false,
-                                                          true, true,
-                                                          false)),
-                                                          EmptyString))))))))))))))))))
-                                                          ((String ((Ascii
-                                                          (false, false,
-                                                          false, false, true,
-                                                          true, true,
-                                                          false)), (String
-                                                          ((Ascii (true,
-                                                          false, false,
-                                                          false, false, true,
-                                                          true, false)),
-                                                          (String ((Ascii
-                                                          (false, true,
-                                                          false, false, true,
-                                                          true, true,
-                                                          false)), (String
-                                                          ((Ascii (true,
-                                                          true, false, false,
-                                                          true, true, true,
-                                                          false)), (String
-                                                          ((Ascii (true,
-                                                          false, true, false,
-                                                          false, true, true,
-                                                          false)), (String
-                                                          ((Ascii (false,
-                                                          true, true, true,
-                                                          false, false, true,
-                                                          false)), (String
-                                                          ((Ascii (true,
-                                                          false, true, false,
-                                                          true, true, true,
-                                                          false)), (String
-                                                          ((Ascii (true,
-                                                          false, true, true,
-                                                          false, true, true,
-                                                          false)), (String
-                                                          ((Ascii (false,
-                                                          true, true, false,
-                                                          false, false, true,
-                                                          false)), (String
-                                                          ((Ascii (true,
-                                                          false, false, true,
-                                                          false, true, true,
-                                                          false)), (String
-                                                          ((Ascii (true,
-                                                          false, true, false,
-                                                          false, true, true,
-                                                          false)), (String
-                                                          ((Ascii (false,
-                                                          false, true, true,
-                                                          false, true, true,
-                                                          false)), (String
-                                                          ((Ascii (false,
-                                                          false, true, false,
-                                                          false, true, true,
-                                                          false)),
-                                                          EmptyString)))))))))))))))))))))))))) :: [])) :: (
-    (mkcut (S (S (S (S (S (S (S (S (S (S (S (S (S (S (S (S (S (S (S (S
-      O)))))))))))))))))))) (S (S (S (S (S (S (S (S (S (S (S (S (S (S (S (S
-      (S (S (S (S (S (S (S (S (S (S (S (S (S (S (S (S (S (S (S (S (S (S (S (S
-      O)))))))))))))))))))))))))))))))))))))))) (String ((Ascii (false,
-      false, true, false, true, false, true, false)), (String ((Ascii (true,
-      true, true, true, false, true, true, false)), (String ((Ascii (false,
-      false, true, false, true, true, true, false)), (String ((Ascii (true,
-      false, false, false, false, true, true, false)), (String ((Ascii
-      (false, false, true, true, false, true, true, false)), (String ((Ascii
-      (false, false, true, false, false, false, true, false)), (String
-      ((Ascii (true, false, true, false, false, true, true, false)), (String
-      ((Ascii (false, true, false, false, false, true, true, false)), (String
-      ((Ascii (true, false, false, true, false, true, true, false)), (String
-      ((Ascii (false, false, true, false, true, true, true, false)), (String
-      ((Ascii (true, false, true, false, false, false, true, false)), (String
-      ((Ascii (false, true, true, true, false, true, true, false)), (String
-      ((Ascii (false, false, true, false, true, true, true, false)), (String
-      ((Ascii (false, true, false, false, true, true, true, false)), (String
-      ((Ascii (true, false, false, true, true, true, true, false)), (String
-      ((Ascii (false, false, true, false, false, false, true, false)),
-      (String ((Ascii (true, true, true, true, false, true, true, false)),
-      (String ((Ascii (false, false, true, true, false, true, true, false)),
-      (String ((Ascii (false, false, true, true, false, true, true, false)),
-      (String ((Ascii (true, false, false, false, false, true, true, false)),
-      (String ((Ascii (false, true, false, false, true, true, true, false)),
-      (String ((Ascii (true, false, false, false, false, false, true,
-      false)), (String ((Ascii (true, false, true, true, false, true, true,
-      false)), (String ((Ascii (true, true, true, true, false, true, true,
-      false)), (String ((Ascii (true, false, true, false, true, true, true,
-      false)), (String ((Ascii (false, true, true, true, false, true, true,
-      false)), (String ((Ascii (false, false, true, false, true, true, true,
-      false)),
-      EmptyString))))))))))))))))))))))))))))))))))))))))))))))))))))))
-      ((String ((Ascii (false, false, false, false, true, true, true,
-      false)), (String ((Ascii (true, false, false, false, false, true, true,
-      false)), (String ((Ascii (false, true, false, false, true, true, true,
-      false)), (String ((Ascii (true, true, false, false, true, true, true,
-      false)), (String ((Ascii (true, false, true, false, false, true, true,
-      false)), (String ((Ascii (false, true, true, true, false, false, true,
-      false)), (String ((Ascii (true, false, true, false, true, true, true,
-      false)), (String ((Ascii (true, false, true, true, false, true, true,
-      false)), (String ((Ascii (false, true, true, false, false, false, true,
-      false)), (String ((Ascii (true, false, false, true, false, true, true,
-      false)), (String ((Ascii (true, false, true, false, false, true, true,
-      false)), (String ((Ascii (false, false, true, true, false, true, true,
-      false)), (String ((Ascii (false, false, true, false, false, true, true,
-      false)), EmptyString)))))))))))))))))))))))))) :: [])) :: ((mkcut (S (S
-                                                                   (S (S (S
-                                                                   (S (S (S
-                                                                   (S (S (S
-                                                                   (S (S (S
-                                                                   (S (S (S
-                                                                   (S (S (S
-                                                                   (S (S (S
-                                                                   (S (S (S
-                                                                   (S (S (S
-                                                                   (S (S (S
-                                                                   (S (S (S
-                                                                   (S (S (S
-                                                                   (S (S
-                                                                   O))))))))))))))))))))))))))))))))))))))))
-                                                                   (S (S (S
-                                                                   (S (S (S
-                                                                   (S (S (S
-                                                                   (S (S (S
-                                                                   (S (S (S
-                                                                   (S (S (S
-                                                                   (S (S (S
-                                                                   (S (S (S
-                                                                   (S (S (S
-                                                                   (S (S (S
-                                                                   (S (S (S
-                                                                   (S (S (S
-                                                                   (S (S (S
-                                                                   (S (S (S
-                                                                   (S (S (S
-                                                                   (S (S (S
-                                                                   (S (S (S
-                                                                   (S (S (S
-                                                                   (S (S (S
-                                                                   (S (S (S
-                                                                   O))))))))))))))))))))))))))))))))))))))))))))))))))))))))))))
-                                                                   (String
-                                                                   ((Ascii
-                                                                   (false,
-                                                                   false,
-                                                                   true,
-                                                                   false,
-                                                                   true,
-                                                                   false,
-                                                                   true,
-                                                                   false)),
-                                                                   (String
-                                                                   ((Ascii
-                                                                   (true,
-                                                                   true,
-                                                                   true,
-                                                                   true,
-                                                                   false,
-                                                                   true,
-                                                                   true,
-                                                                   false)),
-                                                                   (String
-                                                                   ((Ascii
-                                                                   (false,
-                                                                   false,
-                                                                   true,
-                                                                   false,
-                                                                   true,
-                                                                   true,
-                                                                   true,
-                                                                   false)),
-                                                                   (String
-                                                                   ((Ascii
-                                                                   (true,
-                                                                   false,
-                                                                   false,
-                                                                   false,
-                                                                   false,
-                                                                   true,
-                                                                   true,
-                                                                   false)),
-                                                                   (String
-                                                                   ((Ascii
-                                                                   (false,
-                                                                   false,
-                                                                   true,
-                                                                   true,
-                                                                   false,
-                                                                   true,
-                                                                   true,
-                                                                   false)),
-                                                                   (String
-                                                                   ((Ascii
-                                                                   (true,
-                                                                   true,
-                                                                   false,
-                                                                   false,
-                                                                   false,
-                                                                   false,
-                                                                   true,
-                                                                   false)),
-                                                                   (String
-                                                                   ((Ascii
-                                                                   (false,
-                                                                   true,
-                                                                   false,
-                                                                   false,
-                                                                   true,
-                                                                   true,
-                                                                   true,
-                                                                   false)),
-                                                                   (String
-                                                                   ((Ascii
-                                                                   (true,
-                                                                   false,
-                                                                   true,
-                                                                   false,
-                                                                   false,
-                                                                   true,
-                                                                   true,
-                                                                   false)),
-                                                                   (String
-                                                                   ((Ascii
-                                                                   (false,
-                                                                   false,
-                                                                   true,
-                                                                   false,
-                                                                   false,
-                                                                   true,
-                                                                   true,
-                                                                   false)),
-                                                                   (String
-                                                                   ((Ascii
-                                                                   (true,
-                                                                   false,
-                                                                   false,
-                                                                   true,
-                                                                   false,
-                                                                   true,
-                                                                   true,
-                                                                   false)),
-                                                                   (String
-                                                                   ((Ascii
-                                                                   (false,
-                                                                   false,
-                                                                   true,
-                                                                   false,
-                                                                   true,
-                                                                   true,
-                                                                   true,
-                                                                   false)),
-                                                                   (String
-                                                                   ((Ascii
-                                                                   (true,
-                                                                   false,
-                                                                   true,
-                                                                   false,
-                                                                   false,
-                                                                   false,
-                                                                   true,
-                                                                   false)),
-                                                                   (String
-                                                                   ((Ascii
-                                                                   (false,
-                                                                   true,
-                                                                   true,
-                                                                   true,
-                                                                   false,
-                                                                   true,
-                                                                   true,
-                                                                   false)),
-                                                                   (String
-                                                                   ((Ascii
-                                                                   (false,
-                                                                   false,
-                                                                   true,
-                                                                   false,
-                                                                   true,
-                                                                   true,
-                                                                   true,
-                                                                   false)),
-                                                                   (String
-                                                                   ((Ascii
-                                                                   (false,
-                                                                   true,
-                                                                   false,
-                                                                   false,
-                                                                   true,
-                                                                   true,
-                                                                   true,
-                                                                   false)),
-                                                                   (String
-                                                                   ((Ascii
-                                                                   (true,
-                                                                   false,
-                                                                   false,
-                                                                   true,
-                                                                   true,
-                                                                   true,
-                                                                   true,
-                                                                   false)),
-                                                                   (String
-                                                                   ((Ascii
-                                                                   (false,
-                                                                   false,
-                                                                   true,
-                                                                   false,
-                                                                   false,
-                                                                   false,
-                                                                   true,
-                                                                   false)),
-                                                                   (String
-                                                                   ((Ascii
-                                                                   (true,
-                                                                   true,
-                                                                   true,
-                                                                   true,
-                                                                   false,
-                                                                   true,
-                                                                   true,
-                                                                   false)),
-                                                                   (String
-                                                                   ((Ascii
-                                                                   (false,
-                                                                   false,
-                                                                   true,
-                                                                   true,
-                                                                   false,
-                                                                   true,
-                                                                   true,
-                                                                   false)),
-                                                                   (String
-                                                                   ((Ascii
-                                                                   (false,
-                                                                   false,
-                                                                   true,
-                                                                   true,
-                                                                   false,
-                                                                   true,
-                                                                   true,
-                                                                   false)),
-                                                                   (String
-                                                                   ((Ascii
-                                                                   (true,
-                                                                   false,
-                                                                   false,
-                                                                   false,
-                                                                   false,
-                                                                   true,
-                                                                   true,
-                                                                   false)),
-                                                                   (String
-                                                                   ((Ascii
-                                                                   (false,
-                                                                   true,
-                                                                   false,
-                                                                   false,
-                                                                   true,
-                                                                   true,
-                                                                   true,
-                                                                   false)),
-                                                                   (String
-                                                                   ((Ascii
-                                                                   (true,
-                                                                   false,
-                                                                   false,
-                                                                   false,
-                                                                   false,
-                                                                   false,
-                                                                   true,
-                                                                   false)),
-                                                                   (String
-                                                                   ((Ascii
-                                                                   (true,
-                                                                   false,
-                                                                   true,
-                                                                   true,
-                                                                   false,
-                                                                   true,
-                                                                   true,
-                                                                   false)),
-                                                                   (String
-                                                                   ((Ascii
-                                                                   (true,
-                                                                   true,
-                                                                   true,
-                                                                   true,
-                                                                   false,
-                                                                   true,
-                                                                   true,
-                                                                   false)),
-                                                                   (String
-                                                                   ((Ascii
-                                                                   (true,
-                                                                   false,
-                                                                   true,
-                                                                   false,
-                                                                   true,
-                                                                   true,
-                                                                   true,
-                                                                   false)),
-                                                                   (String
-                                                                   ((Ascii
-                                                                   (false,
-                                                                   true,
-                                                                   true,
-                                                                   true,
-                                                                   false,
-                                                                   true,
-                                                                   true,
-                                                                   false)),
-                                                                   (String
-                                                                   ((Ascii
-                                                                   (false,
-                                                                   false,
-                                                                   true,
-                                                                   false,
-                                                                   true,
-                                                                   true,
-                                                                   true,
-                                                                   false)),
-                                                                   EmptyString))))))))))))))))))))))))))))))))))))))))))))))))))))))))
-                                                                   ((String
-                                                                   ((Ascii
-                                                                   (false,
-                                                                   false,
-                                                                   false,
-                                                                   false,
-                                                                   true,
-                                                                   true,
-                                                                   true,
-                                                                   false)),
-                                                                   (String
-                                                                   ((Ascii
-                                                                   (true,
-                                                                   false,
-                                                                   false,
-                                                                   false,
-                                                                   false,
-                                                                   true,
-                                                                   true,
-                                                                   false)),
-                                                                   (String
-                                                                   ((Ascii
-                                                                   (false,
-                                                                   true,
-                                                                   false,
-                                                                   false,
-                                                                   true,
-                                                                   true,
-                                                                   true,
-                                                                   false)),
-                                                                   (String
-                                                                   ((Ascii
-                                                                   (true,
-                                                                   true,
-                                                                   false,
-                                                                   false,
-                                                                   true,
-                                                                   true,
-                                                                   true,
-                                                                   false)),
-                                                                   (String
-                                                                   ((Ascii
-                                                                   (true,
-                                                                   false,
-                                                                   true,
-                                                                   false,
-                                                                   false,
-                                                                   true,
-                                                                   true,
-                                                                   false)),
-                                                                   (String
-                                                                   ((Ascii
-                                                                   (false,
-                                                                   true,
-                                                                   true,
-                                                                   true,
-                                                                   false,
-                                                                   false,
-                                                                   true,
-                                                                   false)),
-                                                                   (String
-                                                                   ((Ascii
-                                                                   (true,
-                                                                   false,
-                                                                   true,
-                                                                   false,
-                                                                   true,
-                                                                   true,
-                                                                   true,
-                                                                   false)),
-                                                                   (String
-                                                                   ((Ascii
-                                                                   (true,
-                                                                   false,
-                                                                   true,
-                                                                   true,
-                                                                   false,
-                                                                   true,
-                                                                   true,
-                                                                   false)),
-                                                                   (String
-                                                                   ((Ascii
-                                                                   (false,
-                                                                   true,
-                                                                   true,
-                                                                   false,
-                                                                   false,
-                                                                   false,
-                                                                   true,
-                                                                   false)),
-                                                                   (String
-                                                                   ((Ascii
-                                                                   (true,
-                                                                   false,
-                                                                   false,
-                                                                   true,
-                                                                   false,
-                                                                   true,
-                                                                   true,
-                                                                   false)),
-                                                                   (String
-                                                                   ((Ascii
-                                                                   (true,
-                                                                   false,
-                                                                   true,
-                                                                   false,
-                                                                   false,
-                                                                   true,
-                                                                   true,
-                                                                   false)),
-                                                                   (String
-                                                                   ((Ascii
-                                                                   (false,
-                                                                   false,
-                                                                   true,
-                                                                   true,
-                                                                   false,
-                                                                   true,
-                                                                   true,
-                                                                   false)),
-                                                                   (String
-                                                                   ((Ascii
-                                                                   (false,
-                                                                   false,
-                                                                   true,
-                                                                   false,
-                                                                   false,
-                                                                   true,
-                                                                   true,
-                                                                   false)),
-                                                                   EmptyString)))))))))))))))))))))))))) :: [])) :: (
-    (mkcut (S (S (S (S (S (S (S (S (S (S (S (S (S (S (S (S (S (S (S (S (S (S
-      (S (S (S (S (S (S (S (S (S (S (S (S (S (S (S (S (S (S (S (S (S (S (S (S
-      (S (S (S (S (S (S (S (S (S (S (S (S (S (S
-      O)))))))))))))))))))))))))))))))))))))))))))))))))))))))))))) (S (S (S
-      (S (S (S (S (S (S (S (S (S (S (S (S (S (S (S (S (S (S (S (S (S (S (S (S
-      (S (S (S (S (S (S (S (S (S (S (S (S (S (S (S (S (S (S (S (S (S (S (S (S
-      (S (S (S (S (S (S (S (S (S (S (S (S (S (S (S (S (S (S (S (S (S (S (S (S
-      (S (S (S (S
-      O)))))))))))))))))))))))))))))))))))))))))))))))))))))))))))))))))))))))))))))))
-      (String ((Ascii (true, false, false, false, false, false, true,
-      false)), (String ((Ascii (true, true, false, false, false, false, true,
-      false)), (String ((Ascii (false, false, false, true, false, false,
-      true, false)), (String ((Ascii (true, true, true, true, false, false,
-      true, false)), (String ((Ascii (false, false, false, false, true, true,
-      true, false)), (String ((Ascii (true, false, true, false, false, true,
-      true, false)), (String ((Ascii (false, true, false, false, true, true,
-      true, false)), (String ((Ascii (true, false, false, false, false, true,
-      true, false)), (String ((Ascii (false, false, true, false, true, true,
-      true, false)), (String ((Ascii (true, true, true, true, false, true,
-      true, false)), (String ((Ascii (false, true, false, false, true, true,
-      true, false)), (String ((Ascii (false, false, true, false, false,
-      false, true, false)), (String ((Ascii (true, false, false, false,
-      false, true, true, false)), (String ((Ascii (false, false, true, false,
-      true, true, true, false)), (String ((Ascii (true, false, false, false,
-      false, true, true, false)), EmptyString))))))))))))))))))))))))))))))
-      ((String ((Ascii (true, true, false, false, true, true, true, false)),
-      (String ((Ascii (false, false, true, false, true, true, true, false)),
-      (String ((Ascii (false, true, false, false, true, true, true, false)),
-      (String ((Ascii (true, false, false, true, false, true, true, false)),
-      (String ((Ascii (false, true, true, true, false, true, true, false)),
-      (String ((Ascii (true, true, true, false, false, true, true, false)),
-      (String ((Ascii (true, true, false, false, true, true, true, false)),
-      (String ((Ascii (false, true, true, true, false, true, false, false)),
-      (String ((Ascii (false, false, true, false, true, false, true, false)),
-      (String ((Ascii (false, true, false, false, true, true, true, false)),
-      (String ((Ascii (true, false, false, true, false, true, true, false)),
-      (String ((Ascii (true, false, true, true, false, true, true, false)),
-      (String ((Ascii (true, true, false, false, true, false, true, false)),
-      (String ((Ascii (false, false, false, false, true, true, true, false)),
-      (String ((Ascii (true, false, false, false, false, true, true, false)),
-      (String ((Ascii (true, true, false, false, false, true, true, false)),
-      (String ((Ascii (true, false, true, false, false, true, true, false)),
-      EmptyString)))))))))))))))))))))))))))))))))) :: [])) :: ((mkcut (S (S
-                                                                  (S (S (S (S
-                                                                  (S (S (S (S
-                                                                  (S (S (S (S
-                                                                  (S (S (S (S
-                                                                  (S (S (S (S
-                                                                  (S (S (S (S
-                                                                  (S (S (S (S
-                                                                  (S (S (S (S
-                                                                  (S (S (S (S
-                                                                  (S (S (S (S
-                                                                  (S (S (S (S
-                                                                  (S (S (S (S
-                                                                  (S (S (S (S
-                                                                  (S (S (S (S
-                                                                  (S (S (S (S
-                                                                  (S (S (S (S
-                                                                  (S (S (S (S
-                                                                  (S (S (S (S
-                                                                  (S (S (S (S
-                                                                  (S
-                                                                  O)))))))))))))))))))))))))))))))))))))))))))))))))))))))))))))))))))))))))))))))
-                                                                  (S (S (S (S
-                                                                  (S (S (S (S
-                                                                  (S (S (S (S
-                                                                  (S (S (S (S
-                                                                  (S (S (S (S
-                                                                  (S (S (S (S
-                                                                  (S (S (S (S
-                                                                  (S (S (S (S
-                                                                  (S (S (S (S
-                                                                  (S (S (S (S
-                                                                  (S (S (S (S
-                                                                  (S (S (S (S
-                                                                  (S (S (S (S
-                                                                  (S (S (S (S
-                                                                  (S (S (S (S
-                                                                  (S (S (S (S
-                                                                  (S (S (S (S
-                                                                  (S (S (S (S
-                                                                  (S (S (S (S
-                                                                  (S (S (S (S
-                                                                  (S (S (S (S
-                                                                  (S (S (S
-                                                                  O)))))))))))))))))))))))))))))))))))))))))))))))))))))))))))))))))))))))))))))))))))))))
-                                                                  (String
-                                                                  ((Ascii
-                                                                  (true,
-                                                                  true, true,
-                                                                  true,
-                                                                  false,
-                                                                  false,
-                                                                  true,
-                                                                  false)),
-                                                                  (String
-                                                                  ((Ascii
-                                                                  (false,
-                                                                  false,
-                                                                  true,
-                                                                  false,
-                                                                  false,
-                                                                  false,
-                                                                  true,
-                                                                  false)),
-                                                                  (String
-                                                                  ((Ascii
-                                                                  (false,
-                                                                  true, true,
-                                                                  false,
-                                                                  false,
-                                                                  false,
-                                                                  true,
-                                                                  false)),
-                                                                  (String
-                                                                  ((Ascii
-                                                                  (true,
-                                                                  false,
-                                                                  false,
-                                                                  true,
-                                                                  false,
-                                                                  false,
-                                                                  true,
-                                                                  false)),
-                                                                  (String
-                                                                  ((Ascii
-                                                                  (true,
-                                                                  false,
-                                                                  false,
-                                                                  true,
-                                                                  false,
-                                                                  false,
-                                                                  true,
-                                                                  false)),
-                                                                  (String
-                                                                  ((Ascii
-                                                                  (false,
-                                                                  false,
-                                                                  true,
-                                                                  false,
-                                                                  false,
-                                                                  true, true,
-                                                                  false)),
-                                                                  (String
-                                                                  ((Ascii
-                                                                  (true,
-                                                                  false,
-                                                                  true,
-                                                                  false,
-                                                                  false,
-                                                                  true, true,
-                                                                  false)),
-                                                                  (String
-                                                                  ((Ascii
-                                                                  (false,
-                                                                  true, true,
-                                                                  true,
-                                                                  false,
-                                                                  true, true,
-                                                                  false)),
-                                                                  (String
-                                                                  ((Ascii
-                                                                  (false,
-                                                                  false,
-                                                                  true,
-                                                                  false,
-                                                                  true, true,
-                                                                  true,
-                                                                  false)),
-                                                                  (String
-                                                                  ((Ascii
-                                                                  (true,
-                                                                  false,
-                                                                  false,
-                                                                  true,
-                                                                  false,
-                                                                  true, true,
-                                                                  false)),
-                                                                  (String
-                                                                  ((Ascii
-                                                                  (false,
-                                                                  true, true,
-                                                                  false,
-                                                                  false,
-                                                                  true, true,
-                                                                  false)),
-                                                                  (String
-                                                                  ((Ascii
-                                                                  (true,
-                                                                  false,
-                                                                  false,
-                                                                  true,
-                                                                  false,
-                                                                  true, true,
-                                                                  false)),
-                                                                  (String
-                                                                  ((Ascii
-                                                                  (true,
-                                                                  true,
-                                                                  false,
-                                                                  false,
-                                                                  false,
-                                                                  true, true,
-                                                                  false)),
-                                                                  (String
-                                                                  ((Ascii
-                                                                  (true,
-                                                                  false,
-                                                                  false,
-                                                                  false,
-                                                                  false,
-                                                                  true, true,
-                                                                  false)),
-                                                                  (String
-                                                                  ((Ascii
-                                                                  (false,
-                                                                  false,
-                                                                  true,
-                                                                  false,
-                                                                  true, true,
-                                                                  true,
-                                                                  false)),
-                                                                  (String
-                                                                  ((Ascii
-                                                                  (true,
-                                                                  false,
-                                                                  false,
-                                                                  true,
-                                                                  false,
-                                                                  true, true,
-                                                                  false)),
-                                                                  (String
-                                                                  ((Ascii
-                                                                  (true,
-                                                                  true, true,
-                                                                  true,
-                                                                  false,
-                                                                  true, true,
-                                                                  false)),
-                                                                  (String
-                                                                  ((Ascii
-                                                                  (false,
-                                                                  true, true,
-                                                                  true,
-                                                                  false,
-                                                                  true, true,
-                                                                  false)),
-                                                                  EmptyString))))))))))))))))))))))))))))))))))))
-                                                                  ((String
-                                                                  ((Ascii
-                                                                  (false,
-                                                                  false,
-                                                                  false,
-                                                                  false,
-                                                                  true, true,
-                                                                  true,
-                                                                  false)),
-                                                                  (String
-                                                                  ((Ascii
-                                                                  (true,
-                                                                  false,
-                                                                  false,
-                                                                  false,
-                                                                  false,
-                                                                  true, true,
-                                                                  false)),
-                                                                  (String
-                                                                  ((Ascii
-                                                                  (false,
-                                                                  true,
-                                                                  false,
-                                                                  false,
-                                                                  true, true,
-                                                                  true,
-                                                                  false)),
-                                                                  (String
-                                                                  ((Ascii
-                                                                  (true,
-                                                                  true,
-                                                                  false,
-                                                                  false,
-                                                                  true, true,
-                                                                  true,
-                                                                  false)),
-                                                                  (String
-                                                                  ((Ascii
-                                                                  (true,
-                                                                  false,
-                                                                  true,
-                                                                  false,
-                                                                  false,
-                                                                  true, true,
-                                                                  false)),
-                                                                  (String
-                                                                  ((Ascii
-                                                                  (true,
-                                                                  true,
-                                                                  false,
-                                                                  false,
-                                                                  true,
-                                                                  false,
-                                                                  true,
-                                                                  false)),
-                                                                  (String
-                                                                  ((Ascii
-                                                                  (false,
-                                                                  false,
-                                                                  true,
-                                                                  false,
-                                                                  true, true,
-                                                                  true,
-                                                                  false)),
-                                                                  (String
-                                                                  ((Ascii
-                                                                  (false,
-                                                                  true,
-                                                                  false,
-                                                                  false,
-                                                                  true, true,
-                                                                  true,
-                                                                  false)),
-                                                                  (String
-                                                                  ((Ascii
-                                                                  (true,
-                                                                  false,
-                                                                  false,
-                                                                  true,
-                                                                  false,
-                                                                  true, true,
-                                                                  false)),
-                                                                  (String
-                                                                  ((Ascii
-                                                                  (false,
-                                                                  true, true,
-                                                                  true,
-                                                                  false,
-                                                                  true, true,
-                                                                  false)),
-                                                                  (String
-                                                                  ((Ascii
-                                                                  (true,
-                                                                  true, true,
-                                                                  false,
-                                                                  false,
-                                                                  true, true,
-                                                                  false)),
-                                                                  (String
-                                                                  ((Ascii
-                                                                  (false,
-                                                                  true, true,
-                                                                  false,
-                                                                  false,
-                                                                  false,
-                                                                  true,
-                                                                  false)),
-                                                                  (String
-                                                                  ((Ascii
-                                                                  (true,
-                                                                  false,
-                                                                  false,
-                                                                  true,
-                                                                  false,
-                                                                  true, true,
-                                                                  false)),
-                                                                  (String
-                                                                  ((Ascii
-                                                                  (true,
-                                                                  false,
-                                                                  true,
-                                                                  false,
-                                                                  false,
-                                                                  true, true,
-                                                                  false)),
-                                                                  (String
-                                                                  ((Ascii
-                                                                  (false,
-                                                                  false,
-                                                                  true, true,
-                                                                  false,
-                                                                  true, true,
-                                                                  false)),
-                                                                  (String
-                                                                  ((Ascii
-                                                                  (false,
-                                                                  false,
-                                                                  true,
-                                                                  false,
-                                                                  false,
-                                                                  true, true,
-                                                                  false)),
-                                                                  EmptyString)))))))))))))))))))))))))))))))) :: [])) :: (
-    (mkcut (S (S (S (S (S (S (S (S (S (S (S (S (S (S (S (S (S (S (S (S (S (S
-      (S (S (S (S (S (S (S (S (S (S (S (S (S (S (S (S (S (S (S (S (S (S (S (S
-      (S (S (S (S (S (S (S (S (S (S (S (S (S (S (S (S (S (S (S (S (S (S (S (S
-      (S (S (S (S (S (S (S (S (S (S (S (S (S (S (S (S (S
-      O)))))))))))))))))))))))))))))))))))))))))))))))))))))))))))))))))))))))))))))))))))))))
-      (S (S (S (S (S (S (S (S (S (S (S (S (S (S (S (S (S (S (S (S (S (S (S (S
-      (S (S (S (S (S (S (S (S (S (S (S (S (S (S (S (S (S (S (S (S (S (S (S (S
-      (S (S (S (S (S (S (S (S (S (S (S (S (S (S (S (S (S (S (S (S (S (S (S (S
-      (S (S (S (S (S (S (S (S (S (S (S (S (S (S (S (S (S (S (S (S (S (S
-      O))))))))))))))))))))))))))))))))))))))))))))))))))))))))))))))))))))))))))))))))))))))))))))))
-      (String ((Ascii (false, true, false, false, false, false, true,
-      false)), (String ((Ascii (true, false, false, false, false, true, true,
-      false)), (String ((Ascii (false, false, true, false, true, true, true,
-      false)), (String ((Ascii (true, true, false, false, false, true, true,
-      false)), (String ((Ascii (false, false, false, true, false, true, true,
-      false)), (String ((Ascii (false, true, true, true, false, false, true,
-      false)), (String ((Ascii (true, false, true, false, true, true, true,
-      false)), (String ((Ascii (true, false, true, true, false, true, true,
-      false)), (String ((Ascii (false, true, false, false, false, true, true,
+let rec walk_node_unfixed sub prefix = function
+| File name -> (((app prefix (name :: [])) :: []), false)
+| Dir (name, children) ->
+  if sub
+  then ((let rec go = function
+         | [] -> []
+         | c :: t ->
+           let (ps, stop) = walk_node_unfixed sub (app prefix (name :: [])) c
+           in
+           if stop then ps else app ps (go t)
+         in go children), true)
+  else ([], false)
+
+(** val walk_unfixed : bool -> path -> node list -> path list **)
+
+let rec walk_unfixed sub prefix = function
+| [] -> []
+| c :: t ->
+  let (ps, stop) = walk_node_unfixed sub prefix c in
+  if stop then ps else app ps (walk_unfixed sub prefix t)
+
+type acceptance =
+| Accept
+| AsJson
+| Skip
+
+(** val dot : n **)
+
+let dot =
+  Npos (XO (XI (XI (XI (XO XH)))))
+
+(** val slash : n **)
+
+let slash =
+  Npos (XI (XI (XI (XI (XO XH)))))
+
+(** val base : bytes -> bytes **)
+
+let rec base l = match l with
+| [] -> []
+| _ :: t -> if existsb (N.eqb slash) l then base t else l
+
+(** val ext : bytes -> bytes **)
+
+let rec ext l = match l with
+| [] -> []
+| c :: t ->
+  if existsb (N.eqb dot) t then ext t else if N.eqb c dot then l else []
+
+(** val lower_byte : n -> n **)
+
+let lower_byte c =
+  if (&&) (N.leb (Npos (XI (XO (XO (XO (XO (XO XH))))))) c)
+       (N.leb c (Npos (XO (XI (XO (XI (XI (XO XH))))))))
+  then N.add c (Npos (XO (XO (XO (XO (XO XH))))))
+  else c
+
+(** val lower : bytes -> bytes **)
+
+let lower l =
+  map lower_byte l
+
+(** val lookup :
+    bytes -> (bytes * acceptance) list -> acceptance -> acceptance **)
+
+let rec lookup k t dflt =
+  match t with
+  | [] -> dflt
+  | p :: rest ->
+    let (k', v) = p in if bytes_eqb k k' then v else lookup k rest dflt
+
+(** val accept_with :
+    (bytes * acceptance) list -> acceptance -> bytes -> acceptance **)
+
+let accept_with t dflt p =
+  lookup (lower (ext (base p))) t dflt
+
+(** val spec_table : (bytes * acceptance) list **)
+
+let spec_table =
+  ([], Accept) :: ((((Npos (XO (XI (XI (XI (XO XH)))))) :: ((Npos (XI (XO (XO
+    (XO (XO (XI XH))))))) :: ((Npos (XI (XI (XO (XO (XO (XI
+    XH))))))) :: ((Npos (XO (XO (XO (XI (XO (XI XH))))))) :: [])))),
+    Accept) :: ((((Npos (XO (XI (XI (XI (XO XH)))))) :: ((Npos (XO (XO (XI
+    (XO (XI (XI XH))))))) :: ((Npos (XO (XO (XO (XI (XI (XI
+    XH))))))) :: ((Npos (XO (XO (XI (XO (XI (XI XH))))))) :: [])))),
+    Accept) :: ((((Npos (XO (XI (XI (XI (XO XH)))))) :: ((Npos (XO (XI (XO
+    (XI (XO (XI XH))))))) :: ((Npos (XI (XI (XO (XO (XI (XI
+    XH))))))) :: ((Npos (XI (XI (XI (XI (XO (XI XH))))))) :: ((Npos (XO (XI
+    (XI (XI (XO (XI XH))))))) :: []))))), AsJson) :: [])))
+
+(** val spec_accept : bytes -> acceptance **)
+
+let spec_accept p =
+  accept_with spec_table Skip p
+
+type outcome =
+| PSkip
+| PErr
+| POk of n
+
+type wst =
+| WIdle
+| WGot of n
+| WParsing of n
+| WHolding of n
+| WExitOk
+| WExitErr
+
+type mst =
+| MRun
+| MAdding of n
+| MExitOk
+| MExitErr
+
+type st = { queue : n list; walker_done : bool; ws : wst list; mg : mst;
+            merged : n list; paths_done : bool; parse_done : bool }
+
+type label =
+| LHand of nat
+| LStart of nat
+| LParse of nat
+| LDeliver of nat
+| LAdd
+| LWalkerDone
+| LWalkerCancel
+| LPathsCancel
+| LWorkerExit of nat
+| LWorkerCancel of nat
+| LParseCancel
+| LMergerExit
+
+(** val set_nth : nat -> 'a1 -> 'a1 list -> 'a1 list **)
+
+let rec set_nth k x = function
+| [] -> []
+| y :: t -> (match k with
+             | O -> x :: t
+             | S k' -> y :: (set_nth k' x t))
+
+(** val w_exited : wst -> bool **)
+
+let w_exited = function
+| WExitOk -> true
+| WExitErr -> true
+| _ -> false
+
+(** val w_err : wst -> bool **)
+
+let w_err = function
+| WExitErr -> true
+| _ -> false
+
+(** val m_err : mst -> bool **)
+
+let m_err = function
+| MExitErr -> true
+| _ -> false
+
+(** val m_exited : mst -> bool **)
+
+let m_exited = function
+| MRun -> false
+| MAdding _ -> false
+| _ -> true
+
+(** val gcancel : st -> bool **)
+
+let gcancel s =
+  (||) (existsb w_err s.ws) (m_err s.mg)
+
+(** val set_w : nat -> wst -> st -> st **)
+
+let set_w i w s =
+  { queue = s.queue; walker_done = s.walker_done; ws = (set_nth i w s.ws);
+    mg = s.mg; merged = s.merged; paths_done = s.paths_done; parse_done =
+    s.parse_done }
+
+(** val after_parse : (n -> outcome) -> n -> wst **)
+
+let after_parse parse p =
+  match parse p with
+  | PSkip -> WIdle
+  | PErr -> WExitErr
+  | POk f -> WHolding f
+
+(** val fire :
+    bool -> (n -> outcome) -> (n -> bool) -> label -> st -> st option **)
+
+let fire sel parse add_ok l s =
+  match l with
+  | LHand i ->
+    (match s.queue with
+     | [] -> None
+     | p :: q ->
+       (match nth_error s.ws i with
+        | Some w ->
+          (match w with
+           | WIdle ->
+             if s.walker_done
+             then None
+             else Some { queue = q; walker_done = false; ws =
+                    (set_nth i (WGot p) s.ws); mg = s.mg; merged = s.merged;
+                    paths_done = s.paths_done; parse_done = s.parse_done }
+           | _ -> None)
+        | None -> None))
+  | LStart i ->
+    (match nth_error s.ws i with
+     | Some w ->
+       (match w with
+        | WGot p -> Some (set_w i (WParsing p) s)
+        | _ -> None)
+     | None -> None)
+  | LParse i ->
+    (match nth_error s.ws i with
+     | Some w ->
+       (match w with
+        | WParsing p -> Some (set_w i (after_parse parse p) s)
+        | _ -> None)
+     | None -> None)
+  | LDeliver i ->
+    (match nth_error s.ws i with
+     | Some w ->
+       (match w with
+        | WHolding f ->
+          (match s.mg with
+           | MRun ->
+             Some { queue = s.queue; walker_done = s.walker_done; ws =
+               (set_nth i WIdle s.ws); mg = (MAdding f); merged = s.merged;
+               paths_done = s.paths_done; parse_done = s.parse_done }
+           | _ -> None)
+        | _ -> None)
+     | None -> None)
+  | LAdd ->
+    (match s.mg with
+     | MAdding f ->
+       if add_ok f
+       then Some { queue = s.queue; walker_done = s.walker_done; ws = s.ws;
+              mg = MRun; merged = (f :: s.merged); paths_done = s.paths_done;
+              parse_done = s.parse_done }
+       else Some { queue = s.queue; walker_done = s.walker_done; ws = s.ws;
+              mg = MExitErr; merged = s.merged; paths_done = s.paths_done;
+              parse_done = s.parse_done }
+     | _ -> None)
+  | LWalkerDone ->
+    (match s.queue with
+     | [] ->
+       if s.walker_done
+       then None
+       else Some { queue = []; walker_done = true; ws = s.ws; mg = s.mg;
+              merged = s.merged; paths_done = s.paths_done; parse_done =
+              s.parse_done }
+     | _ :: _ -> None)
+  | LWalkerCancel ->
+    (match s.queue with
+     | [] -> None
+     | _ :: _ ->
+       if (&&) ((&&) sel (negb s.walker_done)) (gcancel s)
+       then Some { queue = s.queue; walker_done = true; ws = s.ws; mg = s.mg;
+              merged = s.merged; paths_done = s.paths_done; parse_done =
+              s.parse_done }
+       else None)
+  | LPathsCancel ->
+    if (&&) s.walker_done (negb s.paths_done)
+    then Some { queue = s.queue; walker_done = s.walker_done; ws = s.ws; mg =
+           s.mg; merged = s.merged; paths_done = true; parse_done =
+           s.parse_done }
+    else None
+  | LWorkerExit i ->
+    (match nth_error s.ws i with
+     | Some w ->
+       (match w with
+        | WIdle -> if s.paths_done then Some (set_w i WExitOk s) else None
+        | _ -> None)
+     | None -> None)
+  | LWorkerCancel i ->
+    (match nth_error s.ws i with
+     | Some w ->
+       (match w with
+        | WHolding _ ->
+          if (&&) sel (gcancel s) then Some (set_w i WExitOk s) else None
+        | _ -> None)
+     | None -> None)
+  | LParseCancel ->
+    if (&&) (forallb w_exited s.ws) (negb s.parse_done)
+    then Some { queue = s.queue; walker_done = s.walker_done; ws = s.ws; mg =
+           s.mg; merged = s.merged; paths_done = s.paths_done; parse_done =
+           true }
+    else None
+  | LMergerExit ->
+    (match s.mg with
+     | MRun ->
+       if s.parse_done
+       then Some { queue = s.queue; walker_done = s.walker_done; ws = s.ws;
+              mg = MExitOk; merged = s.merged; paths_done = s.paths_done;
+              parse_done = s.parse_done }
+       else None
+     | _ -> None)
+
+(** val run :
+    bool -> (n -> outcome) -> (n -> bool) -> label list -> st -> st option **)
+
+let rec run sel parse add_ok sched s =
+  match sched with
+  | [] -> Some s
+  | l :: rest ->
+    (match fire sel parse add_ok l s with
+     | Some s' -> run sel parse add_ok rest s'
+     | None -> None)
+
+(** val terminal : st -> bool **)
+
+let terminal s =
+  (&&)
+    ((&&) ((&&) ((&&) s.walker_done s.paths_done) (forallb w_exited s.ws))
+      s.parse_done) (m_exited s.mg)
+
+type event =
+| EStart of n
+| EDone of n
+
+(** val obs : label -> st -> event option **)
+
+let obs l s =
+  match l with
+  | LStart i ->
+    (match nth_error s.ws i with
+     | Some w -> (match w with
+                  | WGot p -> Some (EStart p)
+                  | _ -> None)
+     | None -> None)
+  | LParse i ->
+    (match nth_error s.ws i with
+     | Some w -> (match w with
+                  | WParsing p -> Some (EDone p)
+                  | _ -> None)
+     | None -> None)
+  | _ -> None
+
+(** val trace_of :
+    bool -> (n -> outcome) -> (n -> bool) -> label list -> st -> event list **)
+
+let rec trace_of sel parse add_ok sched s =
+  match sched with
+  | [] -> []
+  | l :: rest ->
+    (match fire sel parse add_ok l s with
+     | Some s' ->
+       (match obs l s with
+        | Some e -> e :: (trace_of sel parse add_ok rest s')
+        | None -> trace_of sel parse add_ok rest s')
+     | None -> [])
+
+(** val init : nat -> n list -> st **)
+
+let init n0 paths =
+  { queue = paths; walker_done = false; ws = (repeat WIdle n0); mg = MRun;
+    merged = []; paths_done = false; parse_done = false }
+
+type result =
+| RErr
+| ROk of n list
+
+(** val result_of : st -> result **)
+
+let result_of s =
+  if gcancel s then RErr else ROk s.merged
+
+(** val wweight : wst -> nat **)
+
+let wweight = function
+| WIdle -> S O
+| WGot _ -> S (S (S (S (S (S O)))))
+| WParsing _ -> S (S (S (S (S O))))
+| WHolding _ -> S (S (S (S O)))
+| _ -> O
+
+(** val mweight : mst -> nat **)
+
+let mweight = function
+| MRun -> S O
+| MAdding _ -> S (S (S O))
+| _ -> O
+
+(** val wsum : wst list -> nat **)
+
+let rec wsum = function
+| [] -> O
+| w :: t -> add (wweight w) (wsum t)
+
+(** val b2n : bool -> nat **)
+
+let b2n = function
+| true -> O
+| false -> S O
+
+(** val measure : st -> nat **)
+
+let measure s =
+  add
+    (add
+      (add
+        (add
+          (add (mul (S (S (S (S (S (S O)))))) (length s.queue)) (wsum s.ws))
+          (mweight s.mg)) (b2n s.walker_done)) (b2n s.paths_done))
+    (b2n s.parse_done)
+
+(** val per_worker : nat -> (nat -> label) -> label list **)
+
+let per_worker n0 f =
+  map f (seq O n0)
+
+(** val find_w : (wst -> bool) -> wst list -> nat -> nat option **)
+
+let rec find_w f l i =
+  match l with
+  | [] -> None
+  | w :: t -> if f w then Some i else find_w f t (S i)
+
+(** val is_idle : wst -> bool **)
+
+let is_idle = function
+| WIdle -> true
+| _ -> false
+
+(** val is_got : n -> wst -> bool **)
+
+let is_got p = function
+| WGot q -> N.eqb p q
+| _ -> false
+
+(** val is_parsing : n -> wst -> bool **)
+
+let is_parsing p = function
+| WParsing q -> N.eqb p q
+| _ -> false
+
+(** val assoc : (n * outcome) list -> n -> outcome **)
+
+let rec assoc tbl p =
+  match tbl with
+  | [] -> PSkip
+  | p0 :: t -> let (q, o) = p0 in if N.eqb p q then o else assoc t p
+
+(** val event_eqb : event -> event -> bool **)
+
+let event_eqb a b =
+  match a with
+  | EStart p -> (match b with
+                 | EStart q -> N.eqb p q
+                 | EDone _ -> false)
+  | EDone p -> (match b with
+                | EStart _ -> false
+                | EDone q -> N.eqb p q)
+
+(** val trace_eqb : event list -> event list -> bool **)
+
+let rec trace_eqb a b =
+  match a with
+  | [] -> (match b with
+           | [] -> true
+           | _ :: _ -> false)
+  | x :: a' ->
+    (match b with
+     | [] -> false
+     | y :: b' -> (&&) (event_eqb x y) (trace_eqb a' b'))
+
+(** val count_N : n -> n list -> nat **)
+
+let rec count_N x = function
+| [] -> O
+| y :: t -> add (if N.eqb x y then S O else O) (count_N x t)
+
+(** val same_multiset : n list -> n list -> bool **)
+
+let same_multiset a b =
+  forallb (fun x -> Nat.eqb (count_N x a) (count_N x b)) (app a b)
+
+(** val first_enabled :
+    bool -> (n -> outcome) -> (n -> bool) -> label list -> st -> (label * st)
+    option **)
+
+let rec first_enabled sel parse add_ok ls s =
+  match ls with
+  | [] -> None
+  | l :: rest ->
+    (match fire sel parse add_ok l s with
+     | Some s' -> Some (l, s')
+     | None -> first_enabled sel parse add_ok rest s)
+
+(** val safe_labels : nat -> label list **)
+
+let safe_labels n0 =
+  app (LAdd :: [])
+    (app (per_worker n0 (fun x -> LDeliver x))
+      (app (LWalkerDone :: (LPathsCancel :: []))
+        (app (per_worker n0 (fun x -> LWorkerExit x))
+          (app (LParseCancel :: (LMergerExit :: []))
+            (per_worker n0 (fun x -> LWorkerCancel x))))))
+
+(** val saturate :
+    bool -> (n -> outcome) -> (n -> bool) -> nat -> st -> label list -> label
+    list * st **)
+
+let rec saturate sel parse add_ok fuel s acc =
+  match fuel with
+  | O -> (acc, s)
+  | S k ->
+    (match first_enabled sel parse add_ok (safe_labels (length s.ws)) s with
+     | Some p -> let (l, s') = p in saturate sel parse add_ok k s' (l :: acc)
+     | None -> (acc, s))
+
+(** val start_path :
+    bool -> (n -> outcome) -> (n -> bool) -> nat -> n -> st -> label list ->
+    (label list * st) option **)
+
+let rec start_path sel parse add_ok fuel p s acc =
+  match find_w (is_got p) s.ws O with
+  | Some i ->
+    (match fire sel parse add_ok (LStart i) s with
+     | Some s' -> Some (((LStart i) :: acc), s')
+     | None -> None)
+  | None ->
+    (match fuel with
+     | O -> None
+     | S k ->
+       (match find_w is_idle s.ws O with
+        | Some i ->
+          (match fire sel parse add_ok (LHand i) s with
+           | Some s' -> start_path sel parse add_ok k p s' ((LHand i) :: acc)
+           | None -> None)
+        | None -> None))
+
+(** val build :
+    bool -> (n -> outcome) -> (n -> bool) -> event list -> st -> label list
+    -> (label list * st) option **)
+
+let rec build sel parse add_ok trace s acc =
+  match trace with
+  | [] ->
+    let (acc1, s1) = saturate sel parse add_ok (measure s) s acc in
+    (match fire sel parse add_ok LWalkerCancel s1 with
+     | Some s2 ->
+       Some
+         (saturate sel parse add_ok (measure s2) s2 (LWalkerCancel :: acc1))
+     | None -> Some (acc1, s1))
+  | e :: rest ->
+    (match e with
+     | EStart p ->
+       let (acc1, s1) = saturate sel parse add_ok (measure s) s acc in
+       (match start_path sel parse add_ok (S (length s1.queue)) p s1 acc1 with
+        | Some p0 ->
+          let (acc2, s2) = p0 in build sel parse add_ok rest s2 acc2
+        | None -> None)
+     | EDone p ->
+       (match find_w (is_parsing p) s.ws O with
+        | Some i ->
+          (match fire sel parse add_ok (LParse i) s with
+           | Some s' -> build sel parse add_ok rest s' ((LParse i) :: acc)
+           | None -> None)
+        | None -> None))
+
+(** val result_matches : result -> n list option -> bool **)
+
+let result_matches r observed =
+  match r with
+  | RErr -> (match observed with
+             | Some _ -> false
+             | None -> true)
+  | ROk m ->
+    (match observed with
+     | Some ids -> same_multiset m ids
+     | None -> false)
+
+(** val accept :
+    bool -> (n -> outcome) -> (n -> bool) -> nat -> n list -> event list -> n
+    list option -> bool **)
+
+let accept sel parse add_ok n0 paths trace observed =
+  match build sel parse add_ok trace (init n0 paths) [] with
+  | Some p ->
+    let (racc, _) = p in
+    let sched = rev racc in
+    (match run sel parse add_ok sched (init n0 paths) with
+     | Some s ->
+       (&&)
+         ((&&) (terminal s)
+           (trace_eqb (trace_of sel parse add_ok sched (init n0 paths)) trace))
+         (result_matches (result_of s) observed)
+     | None -> false)
+  | None -> false
+
+(** val accept_trace :
+    bool -> nat -> (n * outcome) list -> n list -> event list -> n list
+    option -> bool **)
+
+let accept_trace sel n0 tbl paths trace observed =
+  accept sel (assoc tbl) (fun _ -> true) n0 paths trace observed
+
+type send_site = { s_func : string; s_chan : string; s_guarded : bool;
+                   s_done : string }
+
+(** val has_chan : string -> send_site list -> bool **)
+
+let has_chan c l =
+  existsb (fun s -> eqb1 s.s_chan c) l
+
+(** val shape_sel : send_site list -> bool -> bool **)
+
+let shape_sel l group_ctx =
+  (&&)
+    ((&&) ((&&) group_ctx (forallb (fun s -> s.s_guarded) l))
+      (has_chan (String ((Ascii (false, false, true, false, false, true,
+        true, false)), (String ((Ascii (true, false, false, true, false,
+        true, true, false)), (String ((Ascii (true, true, false, false, true,
+        true, true, false)), (String ((Ascii (true, true, false, false,
+        false, true, true, false)), (String ((Ascii (true, true, true, true,
+        false, true, true, false)), (String ((Ascii (false, true, true,
+        false, true, true, true, false)), (String ((Ascii (true, false, true,
+        false, false, true, true, false)), (String ((Ascii (false, true,
+        false, false, true, true, true, false)), (String ((Ascii (true,
+        false, true, false, false, true, true, false)), (String ((Ascii
+        (false, false, true, false, false, true, true, false)), (String
+        ((Ascii (false, false, false, false, true, false, true, false)),
+        (String ((Ascii (true, false, false, false, false, true, true,
+        false)), (String ((Ascii (false, false, true, false, true, true,
+        true, false)), (String ((Ascii (false, false, false, true, false,
+        true, true, false)), (String ((Ascii (true, true, false, false, true,
+        true, true, false)), EmptyString)))))))))))))))))))))))))))))) l))
+    (has_chan (String ((Ascii (true, false, true, true, false, true, true,
       false)), (String ((Ascii (true, false, true, false, false, true, true,
       false)), (String ((Ascii (false, true, false, false, true, true, true,
-      false)), EmptyString)))))))))))))))))))))) ((String ((Ascii (false,
-      false, false, false, true, true, true, false)), (String ((Ascii (true,
-      false, false, false, false, true, true, false)), (String ((Ascii
-      (false, true, false, false, true, true, true, false)), (String ((Ascii
-      (true, true, false, false, true, true, true, false)), (String ((Ascii
-      (true, false, true, false, false, true, true, false)), (String ((Ascii
-      (false, true, true, true, false, false, true, false)), (String ((Ascii
-      (true, false, true, false, true, true, true, false)), (String ((Ascii
-      (true, false, true, true, false, true, true, false)), (String ((Ascii
-      (false, true, true, false, false, false, true, false)), (String ((Ascii
-      (true, false, false, true, false, true, true, false)), (String ((Ascii
-      (true, false, true, false, false, true, true, false)), (String ((Ascii
-      (false, false, true, true, false, true, true, false)), (String ((Ascii
-      (false, false, true, false, false, true, true, false)),
-      EmptyString)))))))))))))))))))))))))) :: [])) :: []))))))))) }
-
-(** val l_ADVEntryDetail : layout **)
-
-let l_ADVEntryDetail =
-  { l_name = (String ((Ascii (true, false, false, false, false, false, true,
-    false)), (String ((Ascii (false, false, true, false, false, false, true,
-    false)), (String ((Ascii (false, true, true, false, true, false, true,
-    false)), (String ((Ascii (true, false, true, false, false, false, true,
-    false)), (String ((Ascii (false, true, true, true, false, true, true,
-    false)), (String ((Ascii (false, false, true, false, true, true, true,
-    false)), (String ((Ascii (false, true, false, false, true, true, true,
-    false)), (String ((Ascii (true, false, false, true, true, true, true,
-    false)), (String ((Ascii (false, false, true, false, false, false, true,
-    false)), (String ((Ascii (true, false, true, false, false, true, true,
-    false)), (String ((Ascii (false, false, true, false, true, true, true,
-    false)), (String ((Ascii (true, false, false, false, false, true, true,
-    false)), (String ((Ascii (true, false, false, true, false, true, true,
-    false)), (String ((Ascii (false, false, true, true, false, true, true,
-    false)), EmptyString)))))))))))))))))))))))))))); l_ix = IRune; l_segs =
-    ((SLit ((Npos (XO (XI (XI (XO (XI XH)))))) :: [])) :: ((SItoa (String
-    ((Ascii (false, false, true, false, true, false, true, false)), (String
-    ((Ascii (false, true, false, false, true, true, true, false)), (String
-    ((Ascii (true, false, false, false, false, true, true, false)), (String
-    ((Ascii (false, true, true, true, false, true, true, false)), (String
-    ((Ascii (true, true, false, false, true, true, true, false)), (String
-    ((Ascii (true, false, false, false, false, true, true, false)), (String
-    ((Ascii (true, true, false, false, false, true, true, false)), (String
-    ((Ascii (false, false, true, false, true, true, true, false)), (String
-    ((Ascii (true, false, false, true, false, true, true, false)), (String
-    ((Ascii (true, true, true, true, false, true, true, false)), (String
-    ((Ascii (false, true, true, true, false, true, true, false)), (String
-    ((Ascii (true, true, false, false, false, false, true, false)), (String
-    ((Ascii (true, true, true, true, false, true, true, false)), (String
-    ((Ascii (false, false, true, false, false, true, true, false)), (String
-    ((Ascii (true, false, true, false, false, true, true, false)),
-    EmptyString))))))))))))))))))))))))))))))) :: ((SStr ((String ((Ascii
-    (false, true, false, false, true, false, true, false)), (String ((Ascii
-    (false, false, true, false, false, false, true, false)), (String ((Ascii
-    (false, true, true, false, false, false, true, false)), (String ((Ascii
-    (true, false, false, true, false, false, true, false)), (String ((Ascii
-    (true, false, false, true, false, false, true, false)), (String ((Ascii
-    (false, false, true, false, false, true, true, false)), (String ((Ascii
-    (true, false, true, false, false, true, true, false)), (String ((Ascii
-    (false, true, true, true, false, true, true, false)), (String ((Ascii
-    (false, false, true, false, true, true, true, false)), (String ((Ascii
-    (true, false, false, true, false, true, true, false)), (String ((Ascii
-    (false, true, true, false, false, true, true, false)), (String ((Ascii
-    (true, false, false, true, false, true, true, false)), (String ((Ascii
-    (true, true, false, false, false, true, true, false)), (String ((Ascii
-    (true, false, false, false, false, true, true, false)), (String ((Ascii
-    (false, false, true, false, true, true, true, false)), (String ((Ascii
-    (true, false, false, true, false, true, true, false)), (String ((Ascii
-    (true, true, true, true, false, true, true, false)), (String ((Ascii
-    (false, true, true, true, false, true, true, false)),
-    EmptyString)))))))))))))))))))))))))))))))))))), (S (S (S (S (S (S (S (S
-    O)))))))))) :: ((SRaw (String ((Ascii (true, true, false, false, false,
-    false, true, false)), (String ((Ascii (false, false, false, true, false,
-    true, true, false)), (String ((Ascii (true, false, true, false, false,
-    true, true, false)), (String ((Ascii (true, true, false, false, false,
-    true, true, false)), (String ((Ascii (true, true, false, true, false,
-    true, true, false)), (String ((Ascii (false, false, true, false, false,
-    false, true, false)), (String ((Ascii (true, false, false, true, false,
-    true, true, false)), (String ((Ascii (true, true, true, false, false,
-    true, true, false)), (String ((Ascii (true, false, false, true, false,
-    true, true, false)), (String ((Ascii (false, false, true, false, true,
-    true, true, false)), EmptyString))))))))))))))))))))) :: ((SAlpha
-    ((String ((Ascii (false, false, true, false, false, false, true, false)),
-    (String ((Ascii (false, true, true, false, false, false, true, false)),
-    (String ((Ascii (true, false, false, true, false, false, true, false)),
-    (String ((Ascii (true, false, false, false, false, false, true, false)),
-    (String ((Ascii (true, true, false, false, false, true, true, false)),
-    (String ((Ascii (true, true, false, false, false, true, true, false)),
-    (String ((Ascii (true, true, true, true, false, true, true, false)),
-    (String ((Ascii (true, false, true, false, true, true, true, false)),
-    (String ((Ascii (false, true, true, true, false, true, true, false)),
-    (String ((Ascii (false, false, true, false, true, true, true, false)),
-    (String ((Ascii (false, true, true, true, false, false, true, false)),
-    (String ((Ascii (true, false, true, false, true, true, true, false)),
-    (String ((Ascii (true, false, true, true, false, true, true, false)),
-    (String ((Ascii (false, true, false, false, false, true, true, false)),
-    (String ((Ascii (true, false, true, false, false, true, true, false)),
-    (String ((Ascii (false, true, false, false, true, true, true, false)),
-    EmptyString)))))))))))))))))))))))))))))))), (S (S (S (S (S (S (S (S (S
-    (S (S (S (S (S (S O))))))))))))))))) :: ((SNum ((String ((Ascii (true,
-    false, false, false, false, false, true, false)), (String ((Ascii (true,
-    false, true, true, false, true, true, false)), (String ((Ascii (true,
-    true, true, true, false, true, true, false)), (String ((Ascii (true,
-    false, true, false, true, true, true, false)), (String ((Ascii (false,
-    true, true, true, false, true, true, false)), (String ((Ascii (false,
-    false, true, false, true, true, true, false)), EmptyString)))))))))))),
-    (S (S (S (S (S (S (S (S (S (S (S (S O)))))))))))))) :: ((SStr ((String
-    ((Ascii (true, false, false, false, false, false, true, false)), (String
-    ((Ascii (false, false, true, false, false, true, true, false)), (String
-    ((Ascii (false, true, true, false, true, true, true, false)), (String
-    ((Ascii (true, false, false, true, false, true, true, false)), (String
-    ((Ascii (true, true, false, false, false, true, true, false)), (String
-    ((Ascii (true, false, true, false, false, true, true, false)), (String
-    ((Ascii (false, true, false, false, true, false, true, false)), (String
-    ((Ascii (true, true, true, true, false, true, true, false)), (String
-    ((Ascii (true, false, true, false, true, true, true, false)), (String
-    ((Ascii (false, false, true, false, true, true, true, false)), (String
-    ((Ascii (true, false, false, true, false, true, true, false)), (String
-    ((Ascii (false, true, true, true, false, true, true, false)), (String
-    ((Ascii (true, true, true, false, false, true, true, false)), (String
-    ((Ascii (false, true, true, true, false, false, true, false)), (String
-    ((Ascii (true, false, true, false, true, true, true, false)), (String
-    ((Ascii (true, false, true, true, false, true, true, false)), (String
-    ((Ascii (false, true, false, false, false, true, true, false)), (String
-    ((Ascii (true, false, true, false, false, true, true, false)), (String
-    ((Ascii (false, true, false, false, true, true, true, false)),
-    EmptyString)))))))))))))))))))))))))))))))))))))), (S (S (S (S (S (S (S
-    (S (S O))))))))))) :: ((SAlpha ((String ((Ascii (false, true, true,
-    false, false, false, true, false)), (String ((Ascii (true, false, false,
-    true, false, true, true, false)), (String ((Ascii (false, false, true,
-    true, false, true, true, false)), (String ((Ascii (true, false, true,
-    false, false, true, true, false)), (String ((Ascii (true, false, false,
-    true, false, false, true, false)), (String ((Ascii (false, false, true,
-    false, false, true, true, false)), (String ((Ascii (true, false, true,
-    false, false, true, true, false)), (String ((Ascii (false, true, true,
-    true, false, true, true, false)), (String ((Ascii (false, false, true,
-    false, true, true, true, false)), (String ((Ascii (true, false, false,
-    true, false, true, true, false)), (String ((Ascii (false, true, true,
-    false, false, true, true, false)), (String ((Ascii (true, false, false,
-    true, false, true, true, false)), (String ((Ascii (true, true, false,
-    false, false, true, true, false)), (String ((Ascii (true, false, false,
-    false, false, true, true, false)), (String ((Ascii (false, false, true,
-    false, true, true, true, false)), (String ((Ascii (true, false, false,
-    true, false, true, true, false)), (String ((Ascii (true, true, true,
-    true, false, true, true, false)), (String ((Ascii (false, true, true,
-    true, false, true, true, false)),
-    EmptyString)))))))))))))))))))))))))))))))))))), (S (S (S (S (S
-    O))))))) :: ((SAlpha ((String ((Ascii (true, false, false, false, false,
-    false, true, false)), (String ((Ascii (true, true, false, false, false,
-    false, true, false)), (String ((Ascii (false, false, false, true, false,
-    false, true, false)), (String ((Ascii (true, true, true, true, false,
-    false, true, false)), (String ((Ascii (false, false, false, false, true,
-    true, true, false)), (String ((Ascii (true, false, true, false, false,
-    true, true, false)), (String ((Ascii (false, true, false, false, true,
-    true, true, false)), (String ((Ascii (true, false, false, false, false,
-    true, true, false)), (String ((Ascii (false, false, true, false, true,
-    true, true, false)), (String ((Ascii (true, true, true, true, false,
-    true, true, false)), (String ((Ascii (false, true, false, false, true,
-    true, true, false)), (String ((Ascii (false, false, true, false, false,
-    false, true, false)), (String ((Ascii (true, false, false, false, false,
-    true, true, false)), (String ((Ascii (false, false, true, false, true,
-    true, true, false)), (String ((Ascii (true, false, false, false, false,
-    true, true, false)), EmptyString)))))))))))))))))))))))))))))), (S
-    O))) :: ((SAlpha ((String ((Ascii (true, false, false, true, false,
-    false, true, false)), (String ((Ascii (false, true, true, true, false,
-    true, true, false)), (String ((Ascii (false, false, true, false, false,
-    true, true, false)), (String ((Ascii (true, false, false, true, false,
-    true, true, false)), (String ((Ascii (false, true, true, false, true,
-    true, true, false)), (String ((Ascii (true, false, false, true, false,
-    true, true, false)), (String ((Ascii (false, false, true, false, false,
-    true, true, false)), (String ((Ascii (true, false, true, false, true,
-    true, true, false)), (String ((Ascii (true, false, false, false, false,
-    true, true, false)), (String ((Ascii (false, false, true, true, false,
-    true, true, false)), (String ((Ascii (false, true, true, true, false,
-    false, true, false)), (String ((Ascii (true, false, false, false, false,
-    true, true, false)), (String ((Ascii (true, false, true, true, false,
-    true, true, false)), (String ((Ascii (true, false, true, false, false,
-    true, true, false)), EmptyString)))))))))))))))))))))))))))), (S (S (S (S
-    (S (S (S (S (S (S (S (S (S (S (S (S (S (S (S (S (S (S
-    O)))))))))))))))))))))))) :: ((SAlpha ((String ((Ascii (false, false,
-    true, false, false, false, true, false)), (String ((Ascii (true, false,
-    false, true, false, true, true, false)), (String ((Ascii (true, true,
-    false, false, true, true, true, false)), (String ((Ascii (true, true,
-    false, false, false, true, true, false)), (String ((Ascii (false, true,
-    false, false, true, true, true, false)), (String ((Ascii (true, false,
-    true, false, false, true, true, false)), (String ((Ascii (false, false,
-    true, false, true, true, true, false)), (String ((Ascii (true, false,
-    false, true, false, true, true, false)), (String ((Ascii (true, true,
-    true, true, false, true, true, false)), (String ((Ascii (false, true,
-    true, true, false, true, true, false)), (String ((Ascii (true, false,
-    false, false, false, true, true, false)), (String ((Ascii (false, true,
-    false, false, true, true, true, false)), (String ((Ascii (true, false,
-    false, true, true, true, true, false)), (String ((Ascii (false, false,
-    true, false, false, false, true, false)), (String ((Ascii (true, false,
-    false, false, false, true, true, false)), (String ((Ascii (false, false,
-    true, false, true, true, true, false)), (String ((Ascii (true, false,
-    false, false, false, true, true, false)),
-    EmptyString)))))))))))))))))))))))))))))))))), (S (S O)))) :: ((SItoa
-    (String ((Ascii (true, false, false, false, false, false, true, false)),
-    (String ((Ascii (false, false, true, false, false, true, true, false)),
-    (String ((Ascii (false, false, true, false, false, true, true, false)),
-    (String ((Ascii (true, false, true, false, false, true, true, false)),
-    (String ((Ascii (false, true, true, true, false, true, true, false)),
-    (String ((Ascii (false, false, true, false, false, true, true, false)),
-    (String ((Ascii (true, false, false, false, false, true, true, false)),
-    (String ((Ascii (false, true, false, false, true, false, true, false)),
-    (String ((Ascii (true, false, true, false, false, true, true, false)),
-    (String ((Ascii (true, true, false, false, false, true, true, false)),
-    (String ((Ascii (true, true, true, true, false, true, true, false)),
-    (String ((Ascii (false, true, false, false, true, true, true, false)),
-    (String ((Ascii (false, false, true, false, false, true, true, false)),
-    (String ((Ascii (true, false, false, true, false, false, true, false)),
-    (String ((Ascii (false, true, true, true, false, true, true, false)),
-    (String ((Ascii (false, false, true, false, false, true, true, false)),
-    (String ((Ascii (true, false, false, true, false, true, true, false)),
-    (String ((Ascii (true, true, false, false, false, true, true, false)),
-    (String ((Ascii (true, false, false, false, false, true, true, false)),
-    (String ((Ascii (false, false, true, false, true, true, true, false)),
-    (String ((Ascii (true, true, true, true, false, true, true, false)),
-    (String ((Ascii (false, true, false, false, true, true, true, false)),
-    EmptyString))))))))))))))))))))))))))))))))))))))))))))) :: ((SAlpha
-    ((String ((Ascii (true, false, false, false, false, false, true, false)),
-    (String ((Ascii (true, true, false, false, false, false, true, false)),
-    (String ((Ascii (false, false, false, true, false, false, true, false)),
-    (String ((Ascii (true, true, true, true, false, false, true, false)),
-    (String ((Ascii (false, false, false, false, true, true, true, false)),
-    (String ((Ascii (true, false, true, false, false, true, true, false)),
-    (String ((Ascii (false, true, false, false, true, true, true, false)),
-    (String ((Ascii (true, false, false, false, false, true, true, false)),
-    (String ((Ascii (false, false, true, false, true, true, true, false)),
-    (String ((Ascii (true, true, true, true, false, true, true, false)),
-    (String ((Ascii (false, true, false, false, true, true, true, false)),
-    (String ((Ascii (false, true, false, false, true, false, true, false)),
-    (String ((Ascii (true, true, true, true, false, true, true, false)),
-    (String ((Ascii (true, false, true, false, true, true, true, false)),
-    (String ((Ascii (false, false, true, false, true, true, true, false)),
-    (String ((Ascii (true, false, false, true, false, true, true, false)),
-    (String ((Ascii (false, true, true, true, false, true, true, false)),
-    (String ((Ascii (true, true, true, false, false, true, true, false)),
-    (String ((Ascii (false, true, true, true, false, false, true, false)),
-    (String ((Ascii (true, false, true, false, true, true, true, false)),
-    (String ((Ascii (true, false, true, true, false, true, true, false)),
-    (String ((Ascii (false, true, false, false, false, true, true, false)),
-    (String ((Ascii (true, false, true, false, false, true, true, false)),
-    (String ((Ascii (false, true, false, false, true, true, true, false)),
-    EmptyString)))))))))))))))))))))))))))))))))))))))))))))))), (S (S (S (S
-    (S (S (S (S O)))))))))) :: ((SNum ((String ((Ascii (false, true, false,
-    true, false, false, true, false)), (String ((Ascii (true, false, true,
-    false, true, true, true, false)), (String ((Ascii (false, false, true,
-    true, false, true, true, false)), (String ((Ascii (true, false, false,
-    true, false, true, true, false)), (String ((Ascii (true, false, false,
-    false, false, true, true, false)), (String ((Ascii (false, true, true,
-    true, false, true, true, false)), (String ((Ascii (false, false, true,
-    false, false, false, true, false)), (String ((Ascii (true, false, false,
-    false, false, true, true, false)), (String ((Ascii (true, false, false,
-    true, true, true, true, false)), EmptyString)))))))))))))))))), (S (S (S
-    O))))) :: ((SNum ((String ((Ascii (true, true, false, false, true, false,
-    true, false)), (String ((Ascii (true, false, true, false, false, true,
-    true, false)), (String ((Ascii (true, false, false, false, true, true,
-    true, false)), (String ((Ascii (true, false, true, false, true, true,
-    true, false)), (String ((Ascii (true, false, true, false, false, true,
-    true, false)), (String ((Ascii (false, true, true, true, false, true,
-    true, false)), (String ((Ascii (true, true, false, false, false, true,
-    true, false)), (String ((Ascii (true, false, true, false, false, true,
-    true, false)), (String ((Ascii (false, true, true, true, false, false,
-    true, false)), (String ((Ascii (true, false, true, false, true, true,
-    true, false)), (String ((Ascii (true, false, true, true, false, true,
-    true, false)), (String ((Ascii (false, true, false, false, false, true,
-    true, false)), (String ((Ascii (true, false, true, false, false, true,
-    true, false)), (String ((Ascii (false, true, false, false, true, true,
-    true, false)), EmptyString)))))))))))))))))))))))))))), (S (S (S (S
-    O)))))) :: []))))))))))))))); l_cuts =
-    ((mkcut (S O) (S (S (S O))) (String ((Ascii (false, false, true, false,
-       true, false, true, false)), (String ((Ascii (false, true, false,
-       false, true, true, true, false)), (String ((Ascii (true, false, false,
-       false, false, true, true, false)), (String ((Ascii (false, true, true,
-       true, false, true, true, false)), (String ((Ascii (true, true, false,
-       false, true, true, true, false)), (String ((Ascii (true, false, false,
-       false, false, true, true, false)), (String ((Ascii (true, true, false,
-       false, false, true, true, false)), (String ((Ascii (false, false,
-       true, false, true, true, true, false)), (String ((Ascii (true, false,
-       false, true, false, true, true, false)), (String ((Ascii (true, true,
-       true, true, false, true, true, false)), (String ((Ascii (false, true,
-       true, true, false, true, true, false)), (String ((Ascii (true, true,
-       false, false, false, false, true, false)), (String ((Ascii (true,
-       true, true, true, false, true, true, false)), (String ((Ascii (false,
-       false, true, false, false, true, true, false)), (String ((Ascii (true,
-       false, true, false, false, true, true, false)),
-       EmptyString)))))))))))))))))))))))))))))) ((String ((Ascii (false,
-       false, false, false, true, true, true, false)), (String ((Ascii (true,
-       false, false, false, false, true, true, false)), (String ((Ascii
-       (false, true, false, false, true, true, true, false)), (String ((Ascii
-       (true, true, false, false, true, true, true, false)), (String ((Ascii
-       (true, false, true, false, false, true, true, false)), (String ((Ascii
-       (false, true, true, true, false, false, true, false)), (String ((Ascii
-       (true, false, true, false, true, true, true, false)), (String ((Ascii
-       (true, false, true, true, false, true, true, false)), (String ((Ascii
-       (false, true, true, false, false, false, true, false)), (String
-       ((Ascii (true, false, false, true, false, true, true, false)), (String
-       ((Ascii (true, false, true, false, false, true, true, false)), (String
-       ((Ascii (false, false, true, true, false, true, true, false)), (String
-       ((Ascii (false, false, true, false, false, true, true, false)),
-       EmptyString)))))))))))))))))))))))))) :: [])) :: ((mkcut (S (S (S O)))
-                                                           (S (S (S (S (S (S
-                                                           (S (S (S (S (S
-                                                           O)))))))))))
-                                                           (String ((Ascii
-                                                           (false, true,
-                                                           false, false,
-                                                           true, false, true,
-                                                           false)), (String
-                                                           ((Ascii (false,
-                                                           false, true,
-                                                           false, false,
-                                                           false, true,
-                                                           false)), (String
-                                                           ((Ascii (false,
-                                                           true, true, false,
-                                                           false, false,
-                                                           true, false)),
-                                                           (String ((Ascii
-                                                           (true, false,
-                                                           false, true,
-                                                           false, false,
-                                                           true, false)),
-                                                           (String ((Ascii
-                                                           (true, false,
-                                                           false, true,
-                                                           false, false,
-                                                           true, false)),
-                                                           (String ((Ascii
-                                                           (false, false,
-                                                           true, false,
-                                                           false, true, true,
-                                                           false)), (String
-                                                           ((Ascii (true,
-                                                           false, true,
-                                                           false, false,
-                                                           true, true,
-                                                           false)), (String
-                                                           ((Ascii (false,
-                                                           true, true, true,
-                                                           false, true, true,
-                                                           false)), (String
-                                                           ((Ascii (false,
-                                                           false, true,
-                                                           false, true, true,
-                                                           true, false)),
-                                                           (String ((Ascii
-                                                           (true, false,
-                                                           false, true,
-                                                           false, true, true,
-                                                           false)), (String
-                                                           ((Ascii (false,
-                                                           true, true, false,
-                                                           false, true, true,
-                                                           false)), (String
-                                                           ((Ascii (true,
-                                                           false, false,
-                                                           true, false, true,
-                                                           true, false)),
-                                                           (String ((Ascii
-                                                           (true, true,
-                                                           false, false,
-                                                           false, true, true,
-                                                           false)), (String
-                                                           ((Ascii (true,
-                                                           false, false,
-                                                           false, false,
-                                                           true, true,
-                                                           false)), (String
-                                                           ((Ascii (false,
-                                                           false, true,
-                                                           false, true, true,
-                                                           true, false)),
-                                                           (String ((Ascii
-                                                           (true, false,
-                                                           false, true,
-                                                           false, true, true,
-                                                           false)), (String
-                                                           ((Ascii (true,
-                                                           true, true, true,
-                                                           false, true, true,
-                                                           false)), (String
-                                                           ((Ascii (false,
-                                                           true, true, true,
-                                                           false, true, true,
-                                                           false)),
-                                                           EmptyString))))))))))))))))))))))))))))))))))))
-                                                           ((String ((Ascii
-                                                           (false, false,
-                                                           false, false,
-                                                           true, true, true,
-                                                           false)), (String
-                                                           ((Ascii (true,
-                                                           false, false,
-                                                           false, false,
-                                                           true, true,
-                                                           false)), (String
-                                                           ((Ascii (false,
-                                                           true, false,
-                                                           false, true, true,
-                                                           true, false)),
-                                                           (String ((Ascii
-                                                           (true, true,
-                                                           false, false,
-                                                           true, true, true,
-                                                           false)), (String
-                                                           ((Ascii (true,
-                                                           false, true,
-                                                           false, false,
-                                                           true, true,
-                                                           false)), (String
-                                                           ((Ascii (true,
-                                                           true, false,
-                                                           false, true,
-                                                           false, true,
-                                                           false)), (String
-                                                           ((Ascii (false,
-                                                           false, true,
-                                                           false, true, true,
-                                                           true, false)),
-                                                           (String ((Ascii
-                                                           (false, true,
-                                                           false, false,
-                                                           true, true, true,
-                                                           false)), (String
-                                                           ((Ascii (true,
-                                                           false, false,
-                                                           true, false, true,
-                                                           true, false)),
-                                                           (String ((Ascii
-                                                           (false, true,
-                                                           true, true, false,
-                                                           true, true,
-                                                           false)), (String
-                                                           ((Ascii (true,
-                                                           true, true, false,
-                                                           false, true, true,
-                                                           false)), (String
-                                                           ((Ascii (false,
-                                                           true, true, false,
-                                                           false, false,
-                                                           true, false)),
-                                                           (String ((Ascii
-                                                           (true, false,
-                                                           false, true,
-                                                           false, true, true,
-                                                           false)), (String
-                                                           ((Ascii (true,
-                                                           false, true,
-                                                           false, false,
-                                                           true, true,
-                                                           false)), (String
-                                                           ((Ascii (false,
-                                                           false, true, true,
-                                                           false, true, true,
-                                                           false)), (String
-                                                           ((Ascii (false,
-                                                           false, true,
-                                                           false, false,
-                                                           true, true,
-                                                           false)),
-                                                           EmptyString)))))))))))))))))))))))))))))))) :: [])) :: (
-    (mkcut (S (S (S (S (S (S (S (S (S (S (S O))))))))))) (S (S (S (S (S (S (S
-      (S (S (S (S (S O)))))))))))) (String ((Ascii (true, true, false, false,
-      false, false, true, false)), (String ((Ascii (false, false, false,
-      true, false, true, true, false)), (String ((Ascii (true, false, true,
-      false, false, true, true, false)), (String ((Ascii (true, true, false,
-      false, false, true, true, false)), (String ((Ascii (true, true, false,
-      true, false, true, true, false)), (String ((Ascii (false, false, true,
-      false, false, false, true, false)), (String ((Ascii (true, false,
-      false, true, false, true, true, false)), (String ((Ascii (true, true,
-      true, false, false, true, true, false)), (String ((Ascii (true, false,
-      false, true, false, true, true, false)), (String ((Ascii (false, false,
-      true, false, true, true, true, false)), EmptyString))))))))))))))))))))
-      ((String ((Ascii (false, false, false, false, true, true, true,
-      false)), (String ((Ascii (true, false, false, false, false, true, true,
-      false)), (String ((Ascii (false, true, false, false, true, true, true,
-      false)), (String ((Ascii (true, true, false, false, true, true, true,
-      false)), (String ((Ascii (true, false, true, false, false, true, true,
-      false)), (String ((Ascii (true, true, false, false, true, false, true,
-      false)), (String ((Ascii (false, false, true, false, true, true, true,
-      false)), (String ((Ascii (false, true, false, false, true, true, true,
-      false)), (String ((Ascii (true, false, false, true, false, true, true,
-      false)), (String ((Ascii (false, true, true, true, false, true, true,
       false)), (String ((Ascii (true, true, true, false, false, true, true,
-      false)), (String ((Ascii (false, true, true, false, false, false, true,
-      false)), (String ((Ascii (true, false, false, true, false, true, true,
-      false)), (String ((Ascii (true, false, true, false, false, true, true,
-      false)), (String ((Ascii (false, false, true, true, false, true, true,
-      false)), (String ((Ascii (false, false, true, false, false, true, true,
-      false)), EmptyString)))))))))))))))))))))))))))))))) :: [])) :: (
-    (mkcut (S (S (S (S (S (S (S (S (S (S (S (S O)))))))))))) (S (S (S (S (S
-      (S (S (S (S (S (S (S (S (S (S (S (S (S (S (S (S (S (S (S (S (S (S
-      O))))))))))))))))))))))))))) (String ((Ascii (false, false, true,
-      false, false, false, true, false)), (String ((Ascii (false, true, true,
-      false, false, false, true, false)), (String ((Ascii (true, false,
-      false, true, false, false, true, false)), (String ((Ascii (true, false,
-      false, false, false, false, true, false)), (String ((Ascii (true, true,
-      false, false, false, true, true, false)), (String ((Ascii (true, true,
-      false, false, false, true, true, false)), (String ((Ascii (true, true,
-      true, true, false, true, true, false)), (String ((Ascii (true, false,
-      true, false, true, true, true, false)), (String ((Ascii (false, true,
-      true, true, false, true, true, false)), (String ((Ascii (false, false,
-      true, false, true, true, true, false)), (String ((Ascii (false, true,
-      true, true, false, false, true, false)), (String ((Ascii (true, false,
-      true, false, true, true, true, false)), (String ((Ascii (true, false,
-      true, true, false, true, true, false)), (String ((Ascii (false, true,
-      false, false, false, true, true, false)), (String ((Ascii (true, false,
-      true, false, false, true, true, false)), (String ((Ascii (false, true,
-      false, false, true, true, true, false)),
-      EmptyString)))))))))))))))))))))))))))))))) []) :: ((mkcut (S (S (S (S
-                                                            (S (S (S (S (S (S
-                                                            (S (S (S (S (S (S
-                                                            (S (S (S (S (S (S
-                                                            (S (S (S (S (S
-                                                            O)))))))))))))))))))))))))))
-                                                            (S (S (S (S (S (S
-                                                            (S (S (S (S (S (S
-                                                            (S (S (S (S (S (S
-                                                            (S (S (S (S (S (S
-                                                            (S (S (S (S (S (S
-                                                            (S (S (S (S (S (S
-                                                            (S (S (S
-                                                            O)))))))))))))))))))))))))))))))))))))))
-                                                            (String ((Ascii
-                                                            (true, false,
-                                                            false, false,
-                                                            false, false,
-                                                            true, false)),
-                                                            (String ((Ascii
-                                                            (true, false,
-                                                            true, true,
-                                                            false, true,
-                                                            true, false)),
-                                                            (String ((Ascii
-                                                            (true, true,
-                                                            true, true,
-                                                            false, true,
-                                                            true, false)),
-                                                            (String ((Ascii
-                                                            (true, false,
-                                                            true, false,
-                                                            true, true, true,
-                                                            false)), (String
-                                                            ((Ascii (false,
-                                                            true, true, true,
-                                                            false, true,
-                                                            true, false)),
-                                                            (String ((Ascii
-                                                            (false, false,
-                                                            true, false,
-                                                            true, true, true,
-                                                            false)),
-                                                            EmptyString))))))))))))
-                                                            ((String ((Ascii
-                                                            (false, false,
-                                                            false, false,
-                                                            true, true, true,
-                                                            false)), (String
-                                                            ((Ascii (true,
-                                                            false, false,
-                                                            false, false,
-                                                            true, true,
-                                                            false)), (String
-                                                            ((Ascii (false,
-                                                            true, false,
-                                                            false, true,
-                                                            true, true,
-                                                            false)), (String
-                                                            ((Ascii (true,
-                                                            true, false,
-                                                            false, true,
-                                                            true, true,
-                                                            false)), (String
-                                                            ((Ascii (true,
-                                                            false, true,
-                                                            false, false,
-                                                            true, true,
-                                                            false)), (String
-                                                            ((Ascii (false,
-                                                            true, true, true,
-                                                            false, false,
-                                                            true, false)),
-                                                            (String ((Ascii
-                                                            (true, false,
-                                                            true, false,
-                                                            true, true, true,
-                                                            false)), (String
-                                                            ((Ascii (true,
-                                                            false, true,
-                                                            true, false,
-                                                            true, true,
-                                                            false)), (String
-                                                            ((Ascii (false,
-                                                            true, true,
-                                                            false, false,
-                                                            false, true,
-                                                            false)), (String
-                                                            ((Ascii (true,
-                                                            false, false,
-                                                            true, false,
-                                                            true, true,
-                                                            false)), (String
-                                                            ((Ascii (true,
-                                                            false, true,
-                                                            false, false,
-                                                            true, true,
-                                                            false)), (String
-                                                            ((Ascii (false,
-                                                            false, true,
-                                                            true, false,
-                                                            true, true,
-                                                            false)), (String
-                                                            ((Ascii (false,
-                                                            false, true,
-                                                            false, false,
-                                                            true, true,
-                                                            false)),
-                                                            EmptyString)))))))))))))))))))))))))) :: [])) :: (
-    (mkcut (S (S (S (S (S (S (S (S (S (S (S (S (S (S (S (S (S (S (S (S (S (S
-      (S (S (S (S (S (S (S (S (S (S (S (S (S (S (S (S (S
-      O))))))))))))))))))))))))))))))))))))))) (S (S (S (S (S (S (S (S (S (S
-      (S (S (S (S (S (S (S (S (S (S (S (S (S (S (S (S (S (S (S (S (S (S (S (S
-      (S (S (S (S (S (S (S (S (S (S (S (S (S (S
-      O)))))))))))))))))))))))))))))))))))))))))))))))) (String ((Ascii
-      (true, false, false, false, false, false, true, false)), (String
-      ((Ascii (false, false, true, false, false, true, true, false)), (String
-      ((Ascii (false, true, true, false, true, true, true, false)), (String
-      ((Ascii (true, false, false, true, false, true, true, false)), (String
-      ((Ascii (true, true, false, false, false, true, true, false)), (String
-      ((Ascii (true, false, true, false, false, true, true, false)), (String
-      ((Ascii (false, true, false, false, true, false, true, false)), (String
-      ((Ascii (true, true, true, true, false, true, true, false)), (String
-      ((Ascii (true, false, true, false, true, true, true, false)), (String
-      ((Ascii (false, false, true, false, true, true, true, false)), (String
-      ((Ascii (true, false, false, true, false, true, true, false)), (String
-      ((Ascii (false, true, true, true, false, true, true, false)), (String
-      ((Ascii (true, true, true, false, false, true, true, false)), (String
-      ((Ascii (false, true, true, true, false, false, true, false)), (String
-      ((Ascii (true, false, true, false, true, true, true, false)), (String
-      ((Ascii (true, false, true, true, false, true, true, false)), (String
-      ((Ascii (false, true, false, false, false, true, true, false)), (String
-      ((Ascii (true, false, true, false, false, true, true, false)), (String
-      ((Ascii (false, true, false, false, true, true, true, false)),
-      EmptyString)))))))))))))))))))))))))))))))))))))) ((String ((Ascii
-      (false, false, false, false, true, true, true, false)), (String ((Ascii
-      (true, false, false, false, false, true, true, false)), (String ((Ascii
-      (false, true, false, false, true, true, true, false)), (String ((Ascii
-      (true, true, false, false, true, true, true, false)), (String ((Ascii
-      (true, false, true, false, false, true, true, false)), (String ((Ascii
-      (true, true, false, false, true, false, true, false)), (String ((Ascii
-      (false, false, true, false, true, true, true, false)), (String ((Ascii
-      (false, true, false, false, true, true, true, false)), (String ((Ascii
-      (true, false, false, true, false, true, true, false)), (String ((Ascii
-      (false, true, true, true, false, true, true, false)), (String ((Ascii
-      (true, true, true, false, false, true, true, false)), (String ((Ascii
-      (false, true, true, false, false, false, true, false)), (String ((Ascii
-      (true, false, false, true, false, true, true, false)), (String ((Ascii
-      (true, false, true, false, false, true, true, false)), (String ((Ascii
-      (false, false, true, true, false, true, true, false)), (String ((Ascii
-      (false, false, true, false, false, true, true, false)),
-      EmptyString)))))))))))))))))))))))))))))))) :: [])) :: ((mkcut (S (S (S
-                                                                (S (S (S (S
-                                                                (S (S (S (S
-                                                                (S (S (S (S
-                                                                (S (S (S (S
-                                                                (S (S (S (S
-                                                                (S (S (S (S
-                                                                (S (S (S (S
-                                                                (S (S (S (S
-                                                                (S (S (S (S
-                                                                (S (S (S (S
-                                                                (S (S (S (S
-                                                                (S
-                                                                O))))))))))))))))))))))))))))))))))))))))))))))))
-                                                                (S (S (S (S
-                                                                (S (S (S (S
-                                                                (S (S (S (S
-                                                                (S (S (S (S
-                                                                (S (S (S (S
-                                                                (S (S (S (S
-                                                                (S (S (S (S
-                                                                (S (S (S (S
-                                                                (S (S (S (S
-                                                                (S (S (S (S
-                                                                (S (S (S (S
-                                                                (S (S (S (S
-                                                                (S (S (S (S
-                                                                (S
-                                                                O)))))))))))))))))))))))))))))))))))))))))))))))))))))
-                                                                (String
-                                                                ((Ascii
-                                                                (false, true,
-                                                                true, false,
-                                                                false, false,
-                                                                true,
-                                                                false)),
-                                                                (String
-                                                                ((Ascii
-                                                                (true, false,
-                                                                false, true,
-                                                                false, true,
-                                                                true,
-                                                                false)),
-                                                                (String
-                                                                ((Ascii
-                                                                (false,
-                                                                false, true,
-                                                                true, false,
-                                                                true, true,
-                                                                false)),
-                                                                (String
-                                                                ((Ascii
-                                                                (true, false,
-                                                                true, false,
-                                                                false, true,
-                                                                true,
-                                                                false)),
-                                                                (String
-                                                                ((Ascii
-                                                                (true, false,
-                                                                false, true,
-                                                                false, false,
-                                                                true,
-                                                                false)),
-                                                                (String
-                                                                ((Ascii
-                                                                (false,
-                                                                false, true,
-                                                                false, false,
-                                                                true, true,
-                                                                false)),
-                                                                (String
-                                                                ((Ascii
-                                                                (true, false,
-                                                                true, false,
-                                                                false, true,
-                                                                true,
-                                                                false)),
-                                                                (String
-                                                                ((Ascii
-                                                                (false, true,
-                                                                true, true,
-                                                                false, true,
-                                                                true,
-                                                                false)),
-                                                                (String
-                                                                ((Ascii
-                                                                (false,
-                                                                false, true,
-                                                                false, true,
-                                                                true, true,
-                                                                false)),
-                                                                (String
-                                                                ((Ascii
-                                                                (true, false,
-                                                                false, true,
-                                                                false, true,
-                                                                true,
-                                                                false)),
-                                                                (String
-                                                                ((Ascii
-                                                                (false, true,
-                                                                true, false,
-                                                                false, true,
-                                                                true,
-                                                                false)),
-                                                                (String
-                                                                ((Ascii
-                                                                (true, false,
-                                                                false, true,
-                                                                false, true,
-                                                                true,
-                                                                false)),
-                                                                (String
-                                                                ((Ascii
-                                                                (true, true,
-                                                                false, false,
-                                                                false, true,
-                                                                true,
-                                                                false)),
-                                                                (String
-                                                                ((Ascii
-                                                                (true, false,
-                                                                false, false,
-                                                                false, true,
-                                                                true,
-                                                                false)),
-                                                                (String
-                                                                ((Ascii
-                                                                (false,
-                                                                false, true,
-                                                                false, true,
-                                                                true, true,
-                                                                false)),
-                                                                (String
-                                                                ((Ascii
-                                                                (true, false,
-                                                                false, true,
-                                                                false, true,
-                                                                true,
-                                                                false)),
-                                                                (String
-                                                                ((Ascii
-                                                                (true, true,
-                                                                true, true,
-                                                                false, true,
-                                                                true,
-                                                                false)),
-                                                                (String
-                                                                ((Ascii
-                                                                (false, true,
-                                                                true, true,
-                                                                false, true,
-                                                                true,
-                                                                false)),
-                                                                EmptyString))))))))))))))))))))))))))))))))))))
-                                                                ((String
-                                                                ((Ascii
-                                                                (false,
-                                                                false, false,
-                                                                false, true,
-                                                                true, true,
-                                                                false)),
-                                                                (String
-                                                                ((Ascii
-                                                                (true, false,
-                                                                false, false,
-                                                                false, true,
-                                                                true,
-                                                                false)),
-                                                                (String
-                                                                ((Ascii
-                                                                (false, true,
-                                                                false, false,
-                                                                true, true,
-                                                                true,
-                                                                false)),
-                                                                (String
-                                                                ((Ascii
-                                                                (true, true,
-                                                                false, false,
-                                                                true, true,
-                                                                true,
-                                                                false)),
-                                                                (String
-                                                                ((Ascii
-                                                                (true, false,
-                                                                true, false,
-                                                                false, true,
-                                                                true,
-                                                                false)),
-                                                                (String
-                                                                ((Ascii
-                                                                (true, true,
-                                                                false, false,
-                                                                true, false,
-                                                                true,
-                                                                false)),
-                                                                (String
-                                                                ((Ascii
-                                                                (false,
-                                                                false, true,
-                                                                false, true,
-                                                                true, true,
-                                                                false)),
-                                                                (String
-                                                                ((Ascii
-                                                                (false, true,
-                                                                false, false,
-                                                                true, true,
-                                                                true,
-                                                                false)),
-                                                                (String
-                                                                ((Ascii
-                                                                (true, false,
-                                                                false, true,
-                                                                false, true,
-                                                                true,
-                                                                false)),
-                                                                (String
-                                                                ((Ascii
-                                                                (false, true,
-                                                                true, true,
-                                                                false, true,
-                                                                true,
-                                                                false)),
-                                                                (String
-                                                                ((Ascii
-                                                                (true, true,
-                                                                true, false,
-                                                                false, true,
-                                                                true,
-                                                                false)),
-                                                                (String
-                                                                ((Ascii
-                                                                (false, true,
-                                                                true, false,
-                                                                false, false,
-                                                                true,
-                                                                false)),
-                                                                (String
-                                                                ((Ascii
-                                                                (true, false,
-                                                                false, true,
-                                                                false, true,
-                                                                true,
-                                                                false)),
-                                                                (String
-                                                                ((Ascii
-                                                                (true, false,
-                                                                true, false,
-                                                                false, true,
-                                                                true,
-                                                                false)),
-                                                                (String
-                                                                ((Ascii
-                                                                (false,
-                                                                false, true,
-                                                                true, false,
-                                                                true, true,
-                                                                false)),
-                                                                (String
-                                                                ((Ascii
-                                                                (false,
-                                                                false, true,
-                                                                false, false,
-                                                                true, true,
-                                                                false)),
-                                                                EmptyString)))))))))))))))))))))))))))))))) :: [])) :: (
-    (mkcut (S (S (S (S (S (S (S (S (S (S (S (S (S (S (S (S (S (S (S (S (S (S
-      (S (S (S (S (S (S (S (S (S (S (S (S (S (S (S (S (S (S (S (S (S (S (S (S
-      (S (S (S (S (S (S (S
-      O))))))))))))))))))))))))))))))))))))))))))))))))))))) (S (S (S (S (S
-      (S (S (S (S (S (S (S (S (S (S (S (S (S (S (S (S (S (S (S (S (S (S (S (S
-      (S (S (S (S (S (S (S (S (S (S (S (S (S (S (S (S (S (S (S (S (S (S (S (S
-      (S O)))))))))))))))))))))))))))))))))))))))))))))))))))))) (String
-      ((Ascii (true, false, false, false, false, false, true, false)),
-      (String ((Ascii (true, true, false, false, false, false, true, false)),
-      (String ((Ascii (false, false, false, true, false, false, true,
-      false)), (String ((Ascii (true, true, true, true, false, false, true,
-      false)), (String ((Ascii (false, false, false, false, true, true, true,
-      false)), (String ((Ascii (true, false, true, false, false, true, true,
-      false)), (String ((Ascii (false, true, false, false, true, true, true,
       false)), (String ((Ascii (true, false, false, false, false, true, true,
-      false)), (String ((Ascii (false, false, true, false, true, true, true,
-      false)), (String ((Ascii (true, true, true, true, false, true, true,
-      false)), (String ((Ascii (false, true, false, false, true, true, true,
-      false)), (String ((Ascii (false, false, true, false, false, false,
-      true, false)), (String ((Ascii (true, false, false, false, false, true,
-      true, false)), (String ((Ascii (false, false, true, false, true, true,
-      true, false)), (String ((Ascii (true, false, false, false, false, true,
-      true, false)), EmptyString)))))))))))))))))))))))))))))) ((String
-      ((Ascii (false, false, false, false, true, true, true, false)), (String
-      ((Ascii (true, false, false, false, false, true, true, false)), (String
-      ((Ascii (false, true, false, false, true, true, true, false)), (String
-      ((Ascii (true, true, false, false, true, true, true, false)), (String
-      ((Ascii (true, false, true, false, false, true, true, false)), (String
-      ((Ascii (true, true, false, false, true, false, true, false)), (String
-      ((Ascii (false, false, true, false, true, true, true, false)), (String
-      ((Ascii (false, true, false, false, true, true, true, false)), (String
-      ((Ascii (true, false, false, true, false, true, true, false)), (String
-      ((Ascii (false, true, true, true, false, true, true, false)), (String
-      ((Ascii (true, true, true, false, false, true, true, false)), (String
-      ((Ascii (false, true, true, false, false, false, true, false)), (String
-      ((Ascii (true, false, false, true, false, true, true, false)), (String
-      ((Ascii (true, false, true, false, false, true, true, false)), (String
-      ((Ascii (false, false, true, true, false, true, true, false)), (String
-      ((Ascii (false, false, true, false, false, true, true, false)),
-      EmptyString)))))))))))))))))))))))))))))))) :: [])) :: ((mkcut (S (S (S
-                                                                (S (S (S (S
-                                                                (S (S (S (S
-                                                                (S (S (S (S
-                                                                (S (S (S (S
-                                                                (S (S (S (S
-                                                                (S (S (S (S
-                                                                (S (S (S (S
-                                                                (S (S (S (S
-                                                                (S (S (S (S
-                                                                (S (S (S (S
-                                                                (S (S (S (S
-                                                                (S (S (S (S
-                                                                (S (S (S
-                                                                O))))))))))))))))))))))))))))))))))))))))))))))))))))))
-                                                                (S (S (S (S
-                                                                (S (S (S (S
-                                                                (S (S (S (S
-                                                                (S (S (S (S
-                                                                (S (S (S (S
-                                                                (S (S (S (S
-                                                                (S (S (S (S
-                                                                (S (S (S (S
-                                                                (S (S (S (S
-                                                                (S (S (S (S
-                                                                (S (S (S (S
-                                                                (S (S (S (S
-                                                                (S (S (S (S
-                                                                (S (S (S (S
-                                                                (S (S (S (S
-                                                                (S (S (S (S
-                                                                (S (S (S (S
-                                                                (S (S (S (S
-                                                                (S (S (S (S
-                                                                O))))))))))))))))))))))))))))))))))))))))))))))))))))))))))))))))))))))))))))
-                                                                (String
-                                                                ((Ascii
-                                                                (true, false,
-                                                                false, true,
-                                                                false, false,
-                                                                true,
-                                                                false)),
-                                                                (String
-                                                                ((Ascii
-                                                                (false, true,
-                                                                true, true,
-                                                                false, true,
-                                                                true,
-                                                                false)),
-                                                                (String
-                                                                ((Ascii
-                                                                (false,
-                                                                false, true,
-                                                                false, false,
-                                                                true, true,
-                                                                false)),
-                                                                (String
-                                                                ((Ascii
-                                                                (true, false,
-                                                                false, true,
-                                                                false, true,
-                                                                true,
-                                                                false)),
-                                                                (String
-                                                                ((Ascii
-                                                                (false, true,
-                                                                true, false,
-                                                                true, true,
-                                                                true,
-                                                                false)),
-                                                                (String
-                                                                ((Ascii
-                                                                (true, false,
-                                                                false, true,
-                                                                false, true,
-                                                                true,
-                                                                false)),
-                                                                (String
-                                                                ((Ascii
-                                                                (false,
-                                                                false, true,
-                                                                false, false,
-                                                                true, true,
-                                                                false)),
-                                                                (String
-                                                                ((Ascii
-                                                                (true, false,
-                                                                true, false,
-                                                                true, true,
-                                                                true,
-                                                                false)),
-                                                                (String
-                                                                ((Ascii
-                                                                (true, false,
-                                                                false, false,
-                                                                false, true,
-                                                                true,
-                                                                false)),
-                                                                (String
-                                                                ((Ascii
-                                                                (false,
-                                                                false, true,
-                                                                true, false,
-                                                                true, true,
-                                                                false)),
-                                                                (String
-                                                                ((Ascii
-                                                                (false, true,
-                                                                true, true,
-                                                                false, false,
-                                                                true,
-                                                                false)),
-                                                                (String
-                                                                ((Ascii
-                                                                (true, false,
-                                                                false, false,
-                                                                false, true,
-                                                                true,
-                                                                false)),
-                                                                (String
-                                                                ((Ascii
-                                                                (true, false,
-                                                                true, true,
-                                                                false, true,
-                                                                true,
-                                                                false)),
-                                                                (String
-                                                                ((Ascii
-                                                                (true, false,
-                                                                true, false,
-                                                                false, true,
-                                                                true,
-                                                                false)),
-                                                                EmptyString))))))))))))))))))))))))))))
-                                                                []) :: (
-    (mkcut (S (S (S (S (S (S (S (S (S (S (S (S (S (S (S (S (S (S (S (S (S (S
-      (S (S (S (S (S (S (S (S (S (S (S (S (S (S (S (S (S (S (S (S (S (S (S (S
-      (S (S (S (S (S (S (S (S (S (S (S (S (S (S (S (S (S (S (S (S (S (S (S (S
-      (S (S (S (S (S (S
-      O))))))))))))))))))))))))))))))))))))))))))))))))))))))))))))))))))))))))))))
-      (S (S (S (S (S (S (S (S (S (S (S (S (S (S (S (S (S (S (S (S (S (S (S (S
-      (S (S (S (S (S (S (S (S (S (S (S (S (S (S (S (S (S (S (S (S (S (S (S (S
-      (S (S (S (S (S (S (S (S (S (S (S (S (S (S (S (S (S (S (S (S (S (S (S (S
-      (S (S (S (S (S (S
-      O))))))))))))))))))))))))))))))))))))))))))))))))))))))))))))))))))))))))))))))
-      (String ((Ascii (false, false, true, false, false, false, true,
-      false)), (String ((Ascii (true, false, false, true, false, true, true,
-      false)), (String ((Ascii (true, true, false, false, true, true, true,
-      false)), (String ((Ascii (true, true, false, false, false, true, true,
-      false)), (String ((Ascii (false, true, false, false, true, true, true,
-      false)), (String ((Ascii (true, false, true, false, false, true, true,
-      false)), (String ((Ascii (false, false, true, false, true, true, true,
-      false)), (String ((Ascii (true, false, false, true, false, true, true,
-      false)), (String ((Ascii (true, true, true, true, false, true, true,
-      false)), (String ((Ascii (false, true, true, true, false, true, true,
-      false)), (String ((Ascii (true, false, false, false, false, true, true,
-      false)), (String ((Ascii (false, true, false, false, true, true, true,
-      false)), (String ((Ascii (true, false, false, true, true, true, true,
-      false)), (String ((Ascii (false, false, true, false, false, false,
-      true, false)), (String ((Ascii (true, false, false, false, false, true,
-      true, false)), (String ((Ascii (false, false, true, false, true, true,
-      true, false)), (String ((Ascii (true, false, false, false, false, true,
-      true, false)), EmptyString)))))))))))))))))))))))))))))))))) []) :: (
-    (mkcut (S (S (S (S (S (S (S (S (S (S (S (S (S (S (S (S (S (S (S (S (S (S
-      (S (S (S (S (S (S (S (S (S (S (S (S (S (S (S (S (S (S (S (S (S (S (S (S
-      (S (S (S (S (S (S (S (S (S (S (S (S (S (S (S (S (S (S (S (S (S (S (S (S
-      (S (S (S (S (S (S (S (S
-      O))))))))))))))))))))))))))))))))))))))))))))))))))))))))))))))))))))))))))))))
-      (S (S (S (S (S (S (S (S (S (S (S (S (S (S (S (S (S (S (S (S (S (S (S (S
-      (S (S (S (S (S (S (S (S (S (S (S (S (S (S (S (S (S (S (S (S (S (S (S (S
-      (S (S (S (S (S (S (S (S (S (S (S (S (S (S (S (S (S (S (S (S (S (S (S (S
-      (S (S (S (S (S (S (S
-      O)))))))))))))))))))))))))))))))))))))))))))))))))))))))))))))))))))))))))))))))
-      (String ((Ascii (true, false, false, false, false, false, true,
-      false)), (String ((Ascii (false, false, true, false, false, true, true,
-      false)), (String ((Ascii (false, false, true, false, false, true, true,
-      false)), (String ((Ascii (true, false, true, false, false, true, true,
-      false)), (String ((Ascii (false, true, true, true, false, true, true,
-      false)), (String ((Ascii (false, false, true, false, false, true, true,
-      false)), (String ((Ascii (true, false, false, false, false, true, true,
-      false)), (String ((Ascii (false, true, false, false, true, false, true,
-      false)), (String ((Ascii (true, false, true, false, false, true, true,
-      false)), (String ((Ascii (true, true, false, false, false, true, true,
-      false)), (String ((Ascii (true, true, true, true, false, true, true,
-      false)), (String ((Ascii (false, true, false, false, true, true, true,
-      false)), (String ((Ascii (false, false, true, false, false, true, true,
-      false)), (String ((Ascii (true, false, false, true, false, false, true,
-      false)), (String ((Ascii (false, true, true, true, false, true, true,
-      false)), (String ((Ascii (false, false, true, false, false, true, true,
-      false)), (String ((Ascii (true, false, false, true, false, true, true,
-      false)), (String ((Ascii (true, true, false, false, false, true, true,
-      false)), (String ((Ascii (true, false, false, false, false, true, true,
-      false)), (String ((Ascii (false, false, true, false, true, true, true,
-      false)), (String ((Ascii (true, true, true, true, false, true, true,
-      false)), (String ((Ascii (false, true, false, false, true, true, true,
-      false)), EmptyString))))))))))))))))))))))))))))))))))))))))))))
-      ((String ((Ascii (false, false, false, false, true, true, true,
-      false)), (String ((Ascii (true, false, false, false, false, true, true,
-      false)), (String ((Ascii (false, true, false, false, true, true, true,
-      false)), (String ((Ascii (true, true, false, false, true, true, true,
-      false)), (String ((Ascii (true, false, true, false, false, true, true,
-      false)), (String ((Ascii (false, true, true, true, false, false, true,
-      false)), (String ((Ascii (true, false, true, false, true, true, true,
-      false)), (String ((Ascii (true, false, true, true, false, true, true,
-      false)), (String ((Ascii (false, true, true, false, false, false, true,
-      false)), (String ((Ascii (true, false, false, true, false, true, true,
-      false)), (String ((Ascii (true, false, true, false, false, true, true,
-      false)), (String ((Ascii (false, false, true, true, false, true, true,
-      false)), (String ((Ascii (false, false, true, false, false, true, true,
-      false)), EmptyString)))))))))))))))))))))))))) :: [])) :: ((mkcut (S (S
-                                                                   (S (S (S
-                                                                   (S (S (S
-                                                                   (S (S (S
-                                                                   (S (S (S
-                                                                   (S (S (S
-                                                                   (S (S (S
-                                                                   (S (S (S
-                                                                   (S (S (S
-                                                                   (S (S (S
-                                                                   (S (S (S
-                                                                   (S (S (S
-                                                                   (S (S (S
-                                                                   (S (S (S
-                                                                   (S (S (S
-                                                                   (S (S (S
-                                                                   (S (S (S
-                                                                   (S (S (S
-                                                                   (S (S (S
-                                                                   (S (S (S
-                                                                   (S (S (S
-                                                                   (S (S (S
-                                                                   (S (S (S
-                                                                   (S (S (S
-                                                                   (S (S (S
-                                                                   (S (S (S
-                                                                   (S (S
-                                                                   O)))))))))))))))))))))))))))))))))))))))))))))))))))))))))))))))))))))))))))))))
-                                                                   (S (S (S
-                                                                   (S (S (S
-                                                                   (S (S (S
-                                                                   (S (S (S
-                                                                   (S (S (S
-                                                                   (S (S (S
-                                                                   (S (S (S
-                                                                   (S (S (S
-                                                                   (S (S (S
-                                                                   (S (S (S
-                                                                   (S (S (S
-                                                                   (S (S (S
-                                                                   (S (S (S
-                                                                   (S (S (S
-                                                                   (S (S (S
-                                                                   (S (S (S
-                                                                   (S (S (S
-                                                                   (S (S (S
-                                                                   (S (S (S
-                                                                   (S (S (S
-                                                                   (S (S (S
-                                                                   (S (S (S
-                                                                   (S (S (S
-                                                                   (S (S (S
-                                                                   (S (S (S
-                                                                   (S (S (S
-                                                                   (S (S (S
-                                                                   (S (S (S
-                                                                   (S (S (S
-                                                                   O)))))))))))))))))))))))))))))))))))))))))))))))))))))))))))))))))))))))))))))))))))))))
-                                                                   (String
-                                                                   ((Ascii
-                                                                   (true,
-                                                                   false,
-                                                                   false,
-                                                                   false,
-                                                                   false,
-                                                                   false,
-                                                                   true,
-                                                                   false)),
-                                                                   (String
-                                                                   ((Ascii
-                                                                   (true,
-                                                                   true,
-                                                                   false,
-                                                                   false,
-                                                                   false,
-                                                                   false,
-                                                                   true,
-                                                                   false)),
-                                                                   (String
-                                                                   ((Ascii
-                                                                   (false,
-                                                                   false,
-                                                                   false,
-                                                                   true,
-                                                                   false,
-                                                                   false,
-                                                                   true,
-                                                                   false)),
-                                                                   (String
-                                                                   ((Ascii
-                                                                   (true,
-                                                                   true,
-                                                                   true,
-                                                                   true,
-                                                                   false,
-                                                                   false,
-                                                                   true,
-                                                                   false)),
-                                                                   (String
-                                                                   ((Ascii
-                                                                   (false,
-                                                                   false,
-                                                                   false,
-                                                                   false,
-                                                                   true,
-                                                                   true,
-                                                                   true,
-                                                                   false)),
-                                                                   (String
-                                                                   ((Ascii
-                                                                   (true,
-                                                                   false,
-                                                                   true,
-                                                                   false,
-                                                                   false,
-                                                                   true,
-                                                                   true,
-                                                                   false)),
-                                                                   (String
-                                                                   ((Ascii
-                                                                   (false,
-                                                                   true,
-                                                                   false,
-                                                                   false,
-                                                                   true,
-                                                                   true,
-                                                                   true,
-                                                                   false)),
-                                                                   (String
-                                                                   ((Ascii
-                                                                   (true,
-                                                                   false,
-                                                                   false,
-                                                                   false,
-                                                                   false,
-                                                                   true,
-                                                                   true,
-                                                                   false)),
-                                                                   (String
-                                                                   ((Ascii
-                                                                   (false,
-                                                                   false,
-                                                                   true,
-                                                                   false,
-                                                                   true,
-                                                                   true,
-                                                                   true,
-                                                                   false)),
-                                                                   (String
-                                                                   ((Ascii
-                                                                   (true,
-                                                                   true,
-                                                                   true,
-                                                                   true,
-                                                                   false,
-                                                                   true,
-                                                                   true,
-                                                                   false)),
-                                                                   (String
-                                                                   ((Ascii
-                                                                   (false,
-                                                                   true,
-                                                                   false,
-                                                                   false,
-                                                                   true,
-                                                                   true,
-                                                                   true,
-                                                                   false)),
-                                                                   (String
-                                                                   ((Ascii
-                                                                   (false,
-                                                                   true,
-                                                                   false,
-                                                                   false,
-                                                                   true,
-                                                                   false,
-                                                                   true,
-                                                                   false)),
-                                                                   (String
-                                                                   ((Ascii
-                                                                   (true,
-                                                                   true,
-                                                                   true,
-                                                                   true,
-                                                                   false,
-                                                                   true,
-                                                                   true,
-                                                                   false)),
-                                                                   (String
-                                                                   ((Ascii
-                                                                   (true,
-                                                                   false,
-                                                                   true,
-                                                                   false,
-                                                                   true,
-                                                                   true,
-                                                                   true,
-                                                                   false)),
-                                                                   (String
-                                                                   ((Ascii
-                                                                   (false,
-                                                                   false,
-                                                                   true,
-                                                                   false,
-                                                                   true,
-                                                                   true,
-                                                                   true,
-                                                                   false)),
-                                                                   (String
-                                                                   ((Ascii
-                                                                   (true,
-                                                                   false,
-                                                                   false,
-                                                                   true,
-                                                                   false,
-                                                                   true,
-                                                                   true,
-                                                                   false)),
-                                                                   (String
-                                                                   ((Ascii
-                                                                   (false,
-                                                                   true,
-                                                                   true,
-                                                                   true,
-                                                                   false,
-                                                                   true,
-                                                                   true,
-                                                                   false)),
-                                                                   (String
-                                                                   ((Ascii
-                                                                   (true,
-                                                                   true,
-                                                                   true,
-                                                                   false,
-                                                                   false,
-                                                                   true,
-                                                                   true,
-                                                                   false)),
-                                                                   (String
-                                                                   ((Ascii
-                                                                   (false,
-                                                                   true,
-                                                                   true,
-                                                                   true,
-                                                                   false,
-                                                                   false,
-                                                                   true,
-                                                                   false)),
-                                                                   (String
-                                                                   ((Ascii
-                                                                   (true,
-                                                                   false,
-                                                                   true,
-                                                                   false,
-                                                                   true,
-                                                                   true,
-                                                                   true,
-                                                                   false)),
-                                                                   (String
-                                                                   ((Ascii
-                                                                   (true,
-                                                                   false,
-                                                                   true,
-                                                                   true,
-                                                                   false,
-                                                                   true,
-                                                                   true,
-                                                                   false)),
-                                                                   (String
-                                                                   ((Ascii
-                                                                   (false,
-                                                                   true,
-                                                                   false,
-                                                                   false,
-                                                                   false,
-                                                                   true,
-                                                                   true,
-                                                                   false)),
-                                                                   (String
-                                                                   ((Ascii
-                                                                   (true,
-                                                                   false,
-                                                                   true,
-                                                                   false,
-                                                                   false,
-                                                                   true,
-                                                                   true,
-                                                                   false)),
-                                                                   (String
-                                                                   ((Ascii
-                                                                   (false,
-                                                                   true,
-                                                                   false,
-                                                                   false,
-                                                                   true,
-                                                                   true,
-                                                                   true,
-                                                                   false)),
-                                                                   EmptyString))))))))))))))))))))))))))))))))))))))))))))))))
-                                                                   ((String
-                                                                   ((Ascii
-                                                                   (false,
-                                                                   false,
-                                                                   false,
-                                                                   false,
-                                                                   true,
-                                                                   true,
-                                                                   true,
-                                                                   false)),
-                                                                   (String
-                                                                   ((Ascii
-                                                                   (true,
-                                                                   false,
-                                                                   false,
-                                                                   false,
-                                                                   false,
-                                                                   true,
-                                                                   true,
-                                                                   false)),
-                                                                   (String
-                                                                   ((Ascii
-                                                                   (false,
-                                                                   true,
-                                                                   false,
-                                                                   false,
-                                                                   true,
-                                                                   true,
-                                                                   true,
-                                                                   false)),
-                                                                   (String
-                                                                   ((Ascii
-                                                                   (true,
-                                                                   true,
-                                                                   false,
-                                                                   false,
-                                                                   true,
-                                                                   true,
-                                                                   true,
-                                                                   false)),
-                                                                   (String
-                                                                   ((Ascii
-                                                                   (true,
-                                                                   false,
-                                                                   true,
-                                                                   false,
-                                                                   false,
-                                                                   true,
-                                                                   true,
-                                                                   false)),
-                                                                   (String
-                                                                   ((Ascii
-                                                                   (true,
-                                                                   true,
-                                                                   false,
-                                                                   false,
-                                                                   true,
-                                                                   false,
-                                                                   true,
-                                                                   false)),
-                                                                   (String
-                                                                   ((Ascii
-                                                                   (false,
-                                                                   false,
-                                                                   true,
-                                                                   false,
-                                                                   true,
-                                                                   true,
-                                                                   true,
-                                                                   false)),
-                                                                   (String
-                                                                   ((Ascii
-                                                                   (false,
-                                                                   true,
-                                                                   false,
-                                                                   false,
-                                                                   true,
-                                                                   true,
-                                                                   true,
-                                                                   false)),
-                                                                   (String
-                                                                   ((Ascii
-                                                                   (true,
-                                                                   false,
-                                                                   false,
-                                                                   true,
-                                                                   false,
-                                                                   true,
-                                                                   true,
-                                                                   false)),
-                                                                   (String
-                                                                   ((Ascii
-                                                                   (false,
-                                                                   true,
-                                                                   true,
-                                                                   true,
-                                                                   false,
-                                                                   true,
-                                                                   true,
-                                                                   false)),
-                                                                   (String
-                                                                   ((Ascii
-                                                                   (true,
-                                                                   true,
-                                                                   true,
-                                                                   false,
-                                                                   false,
-                                                                   true,
-                                                                   true,
-                                                                   false)),
-                                                                   (String
-                                                                   ((Ascii
-                                                                   (false,
-                                                                   true,
-                                                                   true,
-                                                                   false,
-                                                                   false,
-                                                                   false,
-                                                                   true,
-                                                                   false)),
-                                                                   (String
-                                                                   ((Ascii
-                                                                   (true,
-                                                                   false,
-                                                                   false,
-                                                                   true,
-                                                                   false,
-                                                                   true,
-                                                                   true,
-                                                                   false)),
-                                                                   (String
-                                                                   ((Ascii
-                                                                   (true,
-                                                                   false,
-                                                                   true,
-                                                                   false,
-                                                                   false,
-                                                                   true,
-                                                                   true,
-                                                                   false)),
-                                                                   (String
-                                                                   ((Ascii
-                                                                   (false,
-                                                                   false,
-                                                                   true,
-                                                                   true,
-                                                                   false,
-                                                                   true,
-                                                                   true,
-                                                                   false)),
-                                                                   (String
-                                                                   ((Ascii
-                                                                   (false,
-                                                                   false,
-                                                                   true,
-                                                                   false,
-                                                                   false,
-                                                                   true,
-                                                                   true,
-                                                                   false)),
-                                                                   EmptyString)))))))))))))))))))))))))))))))) :: [])) :: (
-    (mkcut (S (S (S (S (S (S (S (S (S (S (S (S (S (S (S (S (S (S (S (S (S (S
-      (S (S (S (S (S (S (S (S (S (S (S (S (S (S (S (S (S (S (S (S (S (S (S (S
-      (S (S (S (S (S (S (S (S (S (S (S (S (S (S (S (S (S (S (S (S (S (S (S (S
-      (S (S (S (S (S (S (S (S (S (S (S (S (S (S (S (S (S
-      O)))))))))))))))))))))))))))))))))))))))))))))))))))))))))))))))))))))))))))))))))))))))
-      (S (S (S (S (S (S (S (S (S (S (S (S (S (S (S (S (S (S (S (S (S (S (S (S
-      (S (S (S (S (S (S (S (S (S (S (S (S (S (S (S (S (S (S (S (S (S (S (S (S
-      (S (S (S (S (S (S (S (S (S (S (S (S (S (S (S (S (S (S (S (S (S (S (S (S
-      (S (S (S (S (S (S (S (S (S (S (S (S (S (S (S (S (S (S
-      O))))))))))))))))))))))))))))))))))))))))))))))))))))))))))))))))))))))))))))))))))))))))))
-      (String ((Ascii (false, true, false, true, false, false, true, false)),
-      (String ((Ascii (true, false, true, false, true, true, true, false)),
-      (String ((Ascii (false, false, true, true, false, true, true, false)),
-      (String ((Ascii (true, false, false, true, false, true, true, false)),
-      (String ((Ascii (true, false, false, false, false, true, true, false)),
-      (String ((Ascii (false, true, true, true, false, true, true, false)),
-      (String ((Ascii (false, false, true, false, false, false, true,
-      false)), (String ((Ascii (true, false, false, false, false, true, true,
-      false)), (String ((Ascii (true, false, false, true, true, true, true,
-      false)), EmptyString)))))))))))))))))) ((String ((Ascii (false, false,
-      false, false, true, true, true, false)), (String ((Ascii (true, false,
-      false, false, false, true, true, false)), (String ((Ascii (false, true,
-      false, false, true, true, true, false)), (String ((Ascii (true, true,
-      false, false, true, true, true, false)), (String ((Ascii (true, false,
-      true, false, false, true, true, false)), (String ((Ascii (false, true,
-      true, true, false, false, true, false)), (String ((Ascii (true, false,
-      true, false, true, true, true, false)), (String ((Ascii (true, false,
-      true, true, false, true, true, false)), (String ((Ascii (false, true,
-      true, false, false, false, true, false)), (String ((Ascii (true, false,
-      false, true, false, true, true, false)), (String ((Ascii (true, false,
-      true, false, false, true, true, false)), (String ((Ascii (false, false,
-      true, true, false, true, true, false)), (String ((Ascii (false, false,
-      true, false, false, true, true, false)),
-      EmptyString)))))))))))))))))))))))))) :: [])) :: ((mkcut (S (S (S (S (S
-                                                          (S (S (S (S (S (S
-                                                          (S (S (S (S (S (S
-                                                          (S (S (S (S (S (S
-                                                          (S (S (S (S (S (S
-                                                          (S (S (S (S (S (S
-                                                          (S (S (S (S (S (S
-                                                          (S (S (S (S (S (S
-                                                          (S (S (S (S (S (S
-                                                          (S (S (S (S (S (S
-                                                          (S (S (S (S (S (S
-                                                          (S (S (S (S (S (S
-                                                          (S (S (S (S (S (S
-                                                          (S (S (S (S (S (S
-                                                          (S (S (S (S (S (S
-                                                          (S
-                                                          O))))))))))))))))))))))))))))))))))))))))))))))))))))))))))))))))))))))))))))))))))))))))))
-                                                          (S (S (S (S (S (S
-                                                          (S (S (S (S (S (S
-                                                          (S (S (S (S (S (S
-                                                          (S (S (S (S (S (S
-                                                          (S (S (S (S (S (S
-                                                          (S (S (S (S (S (S
-                                                          (S (S (S (S (S (S
-                                                          (S (S (S (S (S (S
-                                                          (S (S (S (S (S (S
-                                                          (S (S (S (S (S (S
-                                                          (S (S (S (S (S (S
-                                                          (S (S (S (S (S (S
-                                                          (S (S (S (S (S (S
-                                                          (S (S (S (S (S (S
-                                                          (S (S (S (S (S (S
-                                                          (S (S (S (S
-                                                          O))))))))))))))))))))))))))))))))))))))))))))))))))))))))))))))))))))))))))))))))))))))))))))))
-                                                          (String ((Ascii
-                                                          (true, true, false,
-                                                          false, true, false,
-                                                          true, false)),
-                                                          (String ((Ascii
-                                                          (true, false, true,
-                                                          false, false, true,
-                                                          true, false)),
-                                                          (String ((Ascii
-                                                          (true, false,
-                                                          false, false, true,
-                                                          true, true,
-                                                          false)), (String
-                                                          ((Ascii (true,
-                                                          false, true, false,
-                                                          true, true, true,
-                                                          false)), (String
-                                                          ((Ascii (true,
-                                                          false, true, false,
-                                                          false, true, true,
-                                                          false)), (String
-                                                          ((Ascii (false,
-                                                          true, true, true,
-                                                          false, true, true,
-                                                          false)), (String
-                                                          ((Ascii (true,
-                                                          true, false, false,
-                                                          false, true, true,
-                                                          false)), (String
-                                                          ((Ascii (true,
-                                                          false, true, false,
-                                                          false, true, true,
-                                                          false)), (String
-                                                          ((Ascii (false,
-                                                          true, true, true,
-                                                          false, false, true,
-                                                          false)), (String
-                                                          ((Ascii (true,
-                                                          false, true, false,
-                                                          true, true, true,
-                                                          false)), (String
-                                                          ((Ascii (true,
-                                                          false, true, true,
-                                                          false, true, true,
-                                                          false)), (String
-                                                          ((Ascii (false,
-                                                          true, false, false,
-                                                          false, true, true,
-                                                          false)), (String
-                                                          ((Ascii (true,
-                                                          false, true, false,
-                                                          false, true, true,
-                                                          false)), (String
-                                                          ((Ascii (false,
-                                                          true, false, false,
-                                                          true, true, true,
-                                                          false)),
-                                                          EmptyString))))))))))))))))))))))))))))
-                                                          ((String ((Ascii
-                                                          (false, false,
-                                                          false, false, true,
-                                                          true, true,
-                                                          false)), (String
-                                                          ((Ascii (true,
-                                                          false, false,
-                                                          false, false, true,
-                                                          true, false)),
-                                                          (String ((Ascii
-                                                          (false, true,
-                                                          false, false, true,
-                                                          true, true,
-                                                          false)), (String
-                                                          ((Ascii (true,
-                                                          true, false, false,
-                                                          true, true, true,
-                                                          false)), (String
-                                                          ((Ascii (true,
-                                                          false, true, false,
-                                                          false, true, true,
-                                                          false)), (String
-                                                          ((Ascii (false,
-                                                          true, true, true,
-                                                          false, false, true,
-                                                          false)), (String
-                                                          ((Ascii (true,
-                                                          false, true, false,
-                                                          true, true, true,
-                                                          false)), (String
-                                                          ((Ascii (true,
-                                                          false, true, true,
-                                                          false, true, true,
-                                                          false)), (String
-                                                          ((Ascii (false,
-                                                          true, true, false,
-                                                          false, false, true,
-                                                          false)), (String
-                                                          ((Ascii (true,
-                                                          false, false, true,
-                                                          false, true, true,
-                                                          false)), (String
-                                                          ((Ascii (true,
-                                                          false, true, false,
-                                                          false, true, true,
-                                                          false)), (String
-                                                          ((Ascii (false,
-                                                          false, true, true,
-                                                          false, true, true,
-                                                          false)), (String
-                                                          ((Ascii (false,
-                                                          false, true, false,
-                                                          false, true, true,
-                                                          false)),
-                                                          EmptyString)))))))))))))))))))))))))) :: [])) :: [])))))))))))))) }
-
-(** val l_ADVFileControl : layout **)
-
-let l_ADVFileControl =
-  { l_name = (String ((Ascii (true, false, false, false, false, false, true,
-    false)), (String ((Ascii (false, false, true, false, false, false, true,
-    false)), (String ((Ascii (false, true, true, false, true, false, true,
-    false)), (String ((Ascii (false, true, true, false, false, false, true,
-    false)), (String ((Ascii (true, false, false, true, false, true, true,
-    false)), (String ((Ascii (false, false, true, true, false, true, true,
-    false)), (String ((Ascii (true, false, true, false, false, true, true,
-    false)), (String ((Ascii (true, true, false, false, false, false, true,
-    false)), (String ((Ascii (true, true, true, true, false, true, true,
-    false)), (String ((Ascii (false, true, true, true, false, true, true,
-    false)), (String ((Ascii (false, false, true, false, true, true, true,
-    false)), (String ((Ascii (false, true, false, false, true, true, true,
-    false)), (String ((Ascii (true, true, true, true, false, true, true,
-    false)), (String ((Ascii (false, false, true, true, false, true, true,
-    false)), EmptyString)))))))))))))))))))))))))))); l_ix = IRune; l_segs =
-    ((SLit ((Npos (XI (XO (XO (XI (XI XH)))))) :: [])) :: ((SNum ((String
-    ((Ascii (false, true, false, false, false, false, true, false)), (String
-    ((Ascii (true, false, false, false, false, true, true, false)), (String
-    ((Ascii (false, false, true, false, true, true, true, false)), (String
-    ((Ascii (true, true, false, false, false, true, true, false)), (String
-    ((Ascii (false, false, false, true, false, true, true, false)), (String
-    ((Ascii (true, true, false, false, false, false, true, false)), (String
-    ((Ascii (true, true, true, true, false, true, true, false)), (String
-    ((Ascii (true, false, true, false, true, true, true, false)), (String
-    ((Ascii (false, true, true, true, false, true, true, false)), (String
-    ((Ascii (false, false, true, false, true, true, true, false)),
-    EmptyString)))))))))))))))))))), (S (S (S (S (S (S O)))))))) :: ((SNum
-    ((String ((Ascii (false, true, false, false, false, false, true, false)),
-    (String ((Ascii (false, false, true, true, false, true, true, false)),
-    (String ((Ascii (true, true, true, true, false, true, true, false)),
-    (String ((Ascii (true, true, false, false, false, true, true, false)),
-    (String ((Ascii (true, true, false, true, false, true, true, false)),
-    (String ((Ascii (true, true, false, false, false, false, true, false)),
-    (String ((Ascii (true, true, true, true, false, true, true, false)),
-    (String ((Ascii (true, false, true, false, true, true, true, false)),
-    (String ((Ascii (false, true, true, true, false, true, true, false)),
-    (String ((Ascii (false, false, true, false, true, true, true, false)),
-    EmptyString)))))))))))))))))))), (S (S (S (S (S (S O)))))))) :: ((SNum
-    ((String ((Ascii (true, false, true, false, false, false, true, false)),
-    (String ((Ascii (false, true, true, true, false, true, true, false)),
-    (String ((Ascii (false, false, true, false, true, true, true, false)),
-    (String ((Ascii (false, true, false, false, true, true, true, false)),
-    (String ((Ascii (true, false, false, true, true, true, true, false)),
-    (String ((Ascii (true, false, false, false, false, false, true, false)),
-    (String ((Ascii (false, false, true, false, false, true, true, false)),
-    (String ((Ascii (false, false, true, false, false, true, true, false)),
-    (String ((Ascii (true, false, true, false, false, true, true, false)),
-    (String ((Ascii (false, true, true, true, false, true, true, false)),
-    (String ((Ascii (false, false, true, false, false, true, true, false)),
-    (String ((Ascii (true, false, false, false, false, true, true, false)),
-    (String ((Ascii (true, true, false, false, false, false, true, false)),
-    (String ((Ascii (true, true, true, true, false, true, true, false)),
-    (String ((Ascii (true, false, true, false, true, true, true, false)),
-    (String ((Ascii (false, true, true, true, false, true, true, false)),
-    (String ((Ascii (false, false, true, false, true, true, true, false)),
-    EmptyString)))))))))))))))))))))))))))))))))), (S (S (S (S (S (S (S (S
-    O)))))))))) :: ((SNum ((String ((Ascii (true, false, true, false, false,
-    false, true, false)), (String ((Ascii (false, true, true, true, false,
-    true, true, false)), (String ((Ascii (false, false, true, false, true,
-    true, true, false)), (String ((Ascii (false, true, false, false, true,
-    true, true, false)), (String ((Ascii (true, false, false, true, true,
-    true, true, false)), (String ((Ascii (false, false, false, true, false,
-    false, true, false)), (String ((Ascii (true, false, false, false, false,
-    true, true, false)), (String ((Ascii (true, true, false, false, true,
-    true, true, false)), (String ((Ascii (false, false, false, true, false,
-    true, true, false)), EmptyString)))))))))))))))))), (S (S (S (S (S (S (S
-    (S (S (S O)))))))))))) :: ((SNum ((String ((Ascii (false, false, true,
-    false, true, false, true, false)), (String ((Ascii (true, true, true,
-    true, false, true, true, false)), (String ((Ascii (false, false, true,
-    false, true, true, true, false)), (String ((Ascii (true, false, false,
-    false, false, true, true, false)), (String ((Ascii (false, false, true,
-    true, false, true, true, false)), (String ((Ascii (false, false, true,
-    false, false, false, true, false)), (String ((Ascii (true, false, true,
-    false, false, true, true, false)), (String ((Ascii (false, true, false,
-    false, false, true, true, false)), (String ((Ascii (true, false, false,
-    true, false, true, true, false)), (String ((Ascii (false, false, true,
-    false, true, true, true, false)), (String ((Ascii (true, false, true,
-    false, false, false, true, false)), (String ((Ascii (false, true, true,
-    true, false, true, true, false)), (String ((Ascii (false, false, true,
-    false, true, true, true, false)), (String ((Ascii (false, true, false,
-    false, true, true, true, false)), (String ((Ascii (true, false, false,
-    true, true, true, true, false)), (String ((Ascii (false, false, true,
-    false, false, false, true, false)), (String ((Ascii (true, true, true,
-    true, false, true, true, false)), (String ((Ascii (false, false, true,
-    true, false, true, true, false)), (String ((Ascii (false, false, true,
-    true, false, true, true, false)), (String ((Ascii (true, false, false,
-    false, false, true, true, false)), (String ((Ascii (false, true, false,
-    false, true, true, true, false)), (String ((Ascii (true, false, false,
-    false, false, false, true, false)), (String ((Ascii (true, false, true,
-    true, false, true, true, false)), (String ((Ascii (true, true, true,
-    true, false, true, true, false)), (String ((Ascii (true, false, true,
-    false, true, true, true, false)), (String ((Ascii (false, true, true,
-    true, false, true, true, false)), (String ((Ascii (false, false, true,
-    false, true, true, true, false)), (String ((Ascii (true, false, false,
-    true, false, false, true, false)), (String ((Ascii (false, true, true,
-    true, false, true, true, false)), (String ((Ascii (false, true, true,
-    false, false, false, true, false)), (String ((Ascii (true, false, false,
-    true, false, true, true, false)), (String ((Ascii (false, false, true,
-    true, false, true, true, false)), (String ((Ascii (true, false, true,
-    false, false, true, true, false)),
-    EmptyString)))))))))))))))))))))))))))))))))))))))))))))))))))))))))))))))))),
-    (S (S (S (S (S (S (S (S (S (S (S (S (S (S (S (S (S (S (S (S
-    O)))))))))))))))))))))) :: ((SNum ((String ((Ascii (false, false, true,
-    false, true, false, true, false)), (String ((Ascii (true, true, true,
-    true, false, true, true, false)), (String ((Ascii (false, false, true,
-    false, true, true, true, false)), (String ((Ascii (true, false, false,
-    false, false, true, true, false)), (String ((Ascii (false, false, true,
-    true, false, true, true, false)), (String ((Ascii (true, true, false,
-    false, false, false, true, false)), (String ((Ascii (false, true, false,
-    false, true, true, true, false)), (String ((Ascii (true, false, true,
-    false, false, true, true, false)), (String ((Ascii (false, false, true,
-    false, false, true, true, false)), (String ((Ascii (true, false, false,
-    true, false, true, true, false)), (String ((Ascii (false, false, true,
-    false, true, true, true, false)), (String ((Ascii (true, false, true,
-    false, false, false, true, false)), (String ((Ascii (false, true, true,
-    true, false, true, true, false)), (String ((Ascii (false, false, true,
-    false, true, true, true, false)), (String ((Ascii (false, true, false,
-    false, true, true, true, false)), (String ((Ascii (true, false, false,
-    true, true, true, true, false)), (String ((Ascii (false, false, true,
-    false, false, false, true, false)), (String ((Ascii (true, true, true,
-    true, false, true, true, false)), (String ((Ascii (false, false, true,
-    true, false, true, true, false)), (String ((Ascii (false, false, true,
-    true, false, true, true, false)), (String ((Ascii (true, false, false,
-    false, false, true, true, false)), (String ((Ascii (false, true, false,
-    false, true, true, true, false)), (String ((Ascii (true, false, false,
-    false, false, false, true, false)), (String ((Ascii (true, false, true,
-    true, false, true, true, false)), (String ((Ascii (true, true, true,
-    true, false, true, true, false)), (String ((Ascii (true, false, true,
-    false, true, true, true, false)), (String ((Ascii (false, true, true,
-    true, false, true, true, false)), (String ((Ascii (false, false, true,
-    false, true, true, true, false)), (String ((Ascii (true, false, false,
-    true, false, false, true, false)), (String ((Ascii (false, true, true,
-    true, false, true, true, false)), (String ((Ascii (false, true, true,
-    false, false, false, true, false)), (String ((Ascii (true, false, false,
-    true, false, true, true, false)), (String ((Ascii (false, false, true,
-    true, false, true, true, false)), (String ((Ascii (true, false, true,
-    false, false, true, true, false)),
-    EmptyString)))))))))))))))))))))))))))))))))))))))))))))))))))))))))))))))))))),
-    (S (S (S (S (S (S (S (S (S (S (S (S (S (S (S (S (S (S (S (S
-    O)))))))))))))))))))))) :: ((SLit ((Npos (XO (XO (XO (XO (XO
-    XH)))))) :: ((Npos (XO (XO (XO (XO (XO XH)))))) :: ((Npos (XO (XO (XO (XO
-    (XO XH)))))) :: ((Npos (XO (XO (XO (XO (XO XH)))))) :: ((Npos (XO (XO (XO
-    (XO (XO XH)))))) :: ((Npos (XO (XO (XO (XO (XO XH)))))) :: ((Npos (XO (XO
-    (XO (XO (XO XH)))))) :: ((Npos (XO (XO (XO (XO (XO XH)))))) :: ((Npos (XO
-    (XO (XO (XO (XO XH)))))) :: ((Npos (XO (XO (XO (XO (XO XH)))))) :: ((Npos
-    (XO (XO (XO (XO (XO XH)))))) :: ((Npos (XO (XO (XO (XO (XO
-    XH)))))) :: ((Npos (XO (XO (XO (XO (XO XH)))))) :: ((Npos (XO (XO (XO (XO
-    (XO XH)))))) :: ((Npos (XO (XO (XO (XO (XO XH)))))) :: ((Npos (XO (XO (XO
-    (XO (XO XH)))))) :: ((Npos (XO (XO (XO (XO (XO XH)))))) :: ((Npos (XO (XO
-    (XO (XO (XO XH)))))) :: ((Npos (XO (XO (XO (XO (XO XH)))))) :: ((Npos (XO
-    (XO (XO (XO (XO XH)))))) :: ((Npos (XO (XO (XO (XO (XO XH)))))) :: ((Npos
-    (XO (XO (XO (XO (XO XH)))))) :: ((Npos (XO (XO (XO (XO (XO
-    XH)))))) :: [])))))))))))))))))))))))) :: [])))))))); l_cuts =
-    ((mkcut (S O) (S (S (S (S (S (S (S O))))))) (String ((Ascii (false, true,
-       false, false, false, false, true, false)), (String ((Ascii (true,
-       false, false, false, false, true, true, false)), (String ((Ascii
-       (false, false, true, false, true, true, true, false)), (String ((Ascii
-       (true, true, false, false, false, true, true, false)), (String ((Ascii
-       (false, false, false, true, false, true, true, false)), (String
-       ((Ascii (true, true, false, false, false, false, true, false)),
-       (String ((Ascii (true, true, true, true, false, true, true, false)),
-       (String ((Ascii (true, false, true, false, true, true, true, false)),
-       (String ((Ascii (false, true, true, true, false, true, true, false)),
-       (String ((Ascii (false, false, true, false, true, true, true, false)),
-       EmptyString)))))))))))))))))))) ((String ((Ascii (false, false, false,
-       false, true, true, true, false)), (String ((Ascii (true, false, false,
-       false, false, true, true, false)), (String ((Ascii (false, true,
-       false, false, true, true, true, false)), (String ((Ascii (true, true,
-       false, false, true, true, true, false)), (String ((Ascii (true, false,
-       true, false, false, true, true, false)), (String ((Ascii (false, true,
-       true, true, false, false, true, false)), (String ((Ascii (true, false,
-       true, false, true, true, true, false)), (String ((Ascii (true, false,
-       true, true, false, true, true, false)), (String ((Ascii (false, true,
-       true, false, false, false, true, false)), (String ((Ascii (true,
-       false, false, true, false, true, true, false)), (String ((Ascii (true,
-       false, true, false, false, true, true, false)), (String ((Ascii
-       (false, false, true, true, false, true, true, false)), (String ((Ascii
-       (false, false, true, false, false, true, true, false)),
-       EmptyString)))))))))))))))))))))))))) :: [])) :: ((mkcut (S (S (S (S
-                                                           (S (S (S O)))))))
-                                                           (S (S (S (S (S (S
-                                                           (S (S (S (S (S (S
-                                                           (S O)))))))))))))
-                                                           (String ((Ascii
-                                                           (false, true,
-                                                           false, false,
-                                                           false, false,
-                                                           true, false)),
-                                                           (String ((Ascii
-                                                           (false, false,
-                                                           true, true, false,
-                                                           true, true,
-                                                           false)), (String
-                                                           ((Ascii (true,
-                                                           true, true, true,
-                                                           false, true, true,
-                                                           false)), (String
-                                                           ((Ascii (true,
-                                                           true, false,
-                                                           false, false,
-                                                           true, true,
-                                                           false)), (String
-                                                           ((Ascii (true,
-                                                           true, false, true,
-                                                           false, true, true,
-                                                           false)), (String
-                                                           ((Ascii (true,
-                                                           true, false,
-                                                           false, false,
-                                                           false, true,
-                                                           false)), (String
-                                                           ((Ascii (true,
-                                                           true, true, true,
-                                                           false, true, true,
-                                                           false)), (String
-                                                           ((Ascii (true,
-                                                           false, true,
-                                                           false, true, true,
-                                                           true, false)),
-                                                           (String ((Ascii
-                                                           (false, true,
-                                                           true, true, false,
-                                                           true, true,
-                                                           false)), (String
-                                                           ((Ascii (false,
-                                                           false, true,
-                                                           false, true, true,
-                                                           true, false)),
-                                                           EmptyString))))))))))))))))))))
-                                                           ((String ((Ascii
-                                                           (false, false,
-                                                           false, false,
-                                                           true, true, true,
-                                                           false)), (String
-                                                           ((Ascii (true,
-                                                           false, false,
-                                                           false, false,
-                                                           true, true,
-                                                           false)), (String
-                                                           ((Ascii (false,
-                                                           true, false,
-                                                           false, true, true,
-                                                           true, false)),
-                                                           (String ((Ascii
-                                                           (true, true,
-                                                           false, false,
-                                                           true, true, true,
-                                                           false)), (String
-                                                           ((Ascii (true,
-                                                           false, true,
-                                                           false, false,
-                                                           true, true,
-                                                           false)), (String
-                                                           ((Ascii (false,
-                                                           true, true, true,
-                                                           false, false,
-                                                           true, false)),
-                                                           (String ((Ascii
-                                                           (true, false,
-                                                           true, false, true,
-                                                           true, true,
-                                                           false)), (String
-                                                           ((Ascii (true,
-                                                           false, true, true,
-                                                           false, true, true,
-                                                           false)), (String
-                                                           ((Ascii (false,
-                                                           true, true, false,
-                                                           false, false,
-                                                           true, false)),
-                                                           (String ((Ascii
-                                                           (true, false,
-                                                           false, true,
-                                                           false, true, true,
-                                                           false)), (String
-                                                           ((Ascii (true,
-                                                           false, true,
-                                                           false, false,
-                                                           true, true,
-                                                           false)), (String
-                                                           ((Ascii (false,
-                                                           false, true, true,
-                                                           false, true, true,
-                                                           false)), (String
-                                                           ((Ascii (false,
-                                                           false, true,
-                                                           false, false,
-                                                           true, true,
-                                                           false)),
-                                                           EmptyString)))))))))))))))))))))))))) :: [])) :: (
-    (mkcut (S (S (S (S (S (S (S (S (S (S (S (S (S O))))))))))))) (S (S (S (S
-      (S (S (S (S (S (S (S (S (S (S (S (S (S (S (S (S (S
-      O))))))))))))))))))))) (String ((Ascii (true, false, true, false,
-      false, false, true, false)), (String ((Ascii (false, true, true, true,
-      false, true, true, false)), (String ((Ascii (false, false, true, false,
-      true, true, true, false)), (String ((Ascii (false, true, false, false,
-      true, true, true, false)), (String ((Ascii (true, false, false, true,
-      true, true, true, false)), (String ((Ascii (true, false, false, false,
-      false, false, true, false)), (String ((Ascii (false, false, true,
-      false, false, true, true, false)), (String ((Ascii (false, false, true,
-      false, false, true, true, false)), (String ((Ascii (true, false, true,
-      false, false, true, true, false)), (String ((Ascii (false, true, true,
-      true, false, true, true, false)), (String ((Ascii (false, false, true,
-      false, false, true, true, false)), (String ((Ascii (true, false, false,
-      false, false, true, true, false)), (String ((Ascii (true, true, false,
-      false, false, false, true, false)), (String ((Ascii (true, true, true,
-      true, false, true, true, false)), (String ((Ascii (true, false, true,
-      false, true, true, true, false)), (String ((Ascii (false, true, true,
-      true, false, true, true, false)), (String ((Ascii (false, false, true,
-      false, true, true, true, false)),
-      EmptyString)))))))))))))))))))))))))))))))))) ((String ((Ascii (false,
-      false, false, false, true, true, true, false)), (String ((Ascii (true,
-      false, false, false, false, true, true, false)), (String ((Ascii
-      (false, true, false, false, true, true, true, false)), (String ((Ascii
-      (true, true, false, false, true, true, true, false)), (String ((Ascii
-      (true, false, true, false, false, true, true, false)), (String ((Ascii
-      (false, true, true, true, false, false, true, false)), (String ((Ascii
-      (true, false, true, false, true, true, true, false)), (String ((Ascii
-      (true, false, true, true, false, true, true, false)), (String ((Ascii
-      (false, true, true, false, false, false, true, false)), (String ((Ascii
-      (true, false, false, true, false, true, true, false)), (String ((Ascii
-      (true, false, true, false, false, true, true, false)), (String ((Ascii
-      (false, false, true, true, false, true, true, false)), (String ((Ascii
-      (false, false, true, false, false, true, true, false)),
-      EmptyString)))))))))))))))))))))))))) :: [])) :: ((mkcut (S (S (S (S (S
-                                                          (S (S (S (S (S (S
-                                                          (S (S (S (S (S (S
-                                                          (S (S (S (S
-                                                          O)))))))))))))))))))))
-                                                          (S (S (S (S (S (S
-                                                          (S (S (S (S (S (S
-                                                          (S (S (S (S (S (S
-                                                          (S (S (S (S (S (S
-                                                          (S (S (S (S (S (S
-                                                          (S
-                                                          O)))))))))))))))))))))))))))))))
-                                                          (String ((Ascii
-                                                          (true, false, true,
-                                                          false, false,
-                                                          false, true,
-                                                          false)), (String
-                                                          ((Ascii (false,
-                                                          true, true, true,
-                                                          false, true, true,
-                                                          false)), (String
-                                                          ((Ascii (false,
-                                                          false, true, false,
-                                                          true, true, true,
-                                                          false)), (String
-                                                          ((Ascii (false,
-                                                          true, false, false,
-                                                          true, true, true,
-                                                          false)), (String
-                                                          ((Ascii (true,
-                                                          false, false, true,
-                                                          true, true, true,
-                                                          false)), (String
-                                                          ((Ascii (false,
-                                                          false, false, true,
-                                                          false, false, true,
-                                                          false)), (String
-                                                          ((Ascii (true,
-                                                          false, false,
-                                                          false, false, true,
-                                                          true, false)),
-                                                          (String ((Ascii
-                                                          (true, true, false,
-                                                          false, true, true,
-                                                          true, false)),
-                                                          (String ((Ascii
-                                                          (false, false,
-                                                          false, true, false,
-                                                          true, true,
-                                                          false)),
-                                                          EmptyString))))))))))))))))))
-                                                          ((String ((Ascii
-                                                          (false, false,
-                                                          false, false, true,
-                                                          true, true,
-                                                          false)), (String
-                                                          ((Ascii (true,
-                                                          false, false,
-                                                          false, false, true,
-                                                          true, false)),
-                                                          (String ((Ascii
-                                                          (false, true,
-                                                          false, false, true,
-                                                          true, true,
-                                                          false)), (String
-                                                          ((Ascii (true,
-                                                          true, false, false,
-                                                          true, true, true,
-                                                          false)), (String
-                                                          ((Ascii (true,
-                                                          false, true, false,
-                                                          false, true, true,
-                                                          false)), (String
-                                                          ((Ascii (false,
-                                                          true, true, true,
-                                                          false, false, true,
-                                                          false)), (String
-                                                          ((Ascii (true,
-                                                          false, true, false,
-                                                          true, true, true,
-                                                          false)), (String
-                                                          ((Ascii (true,
-                                                          false, true, true,
-                                                          false, true, true,
-                                                          false)), (String
-                                                          ((Ascii (false,
-                                                          true, true, false,
-                                                          false, false, true,
-                                                          false)), (String
-                                                          ((Ascii (true,
-                                                          false, false, true,
-                                                          false, true, true,
-                                                          false)), (String
-                                                          ((Ascii (true,
-                                                          false, true, false,
-                                                          false, true, true,
-                                                          false)), (String
-                                                          ((Ascii (false,
-                                                          false, true, true,
-                                                          false, true, true,
-                                                          false)), (String
-                                                          ((Ascii (false,
-                                                          false, true, false,
-                                                          false, true, true,
-                                                          false)),
-                                                          EmptyString)))))))))))))))))))))))))) :: [])) :: (
-    (mkcut (S (S (S (S (S (S (S (S (S (S (S (S (S (S (S (S (S (S (S (S (S (S
-      (S (S (S (S (S (S (S (S (S O))))))))))))))))))))))))))))))) (S (S (S (S
-      (S (S (S (S (S (S (S (S (S (S (S (S (S (S (S (S (S (S (S (S (S (S (S (S
-      (S (S (S (S (S (S (S (S (S (S (S (S (S (S (S (S (S (S (S (S (S (S (S
-      O))))))))))))))))))))))))))))))))))))))))))))))))))) (String ((Ascii
-      (false, false, true, false, true, false, true, false)), (String ((Ascii
-      (true, true, true, true, false, true, true, false)), (String ((Ascii
-      (false, false, true, false, true, true, true, false)), (String ((Ascii
-      (true, false, false, false, false, true, true, false)), (String ((Ascii
-      (false, false, true, true, false, true, true, false)), (String ((Ascii
-      (false, false, true, false, false, false, true, false)), (String
-      ((Ascii (true, false, true, false, false, true, true, false)), (String
-      ((Ascii (false, true, false, false, false, true, true, false)), (String
-      ((Ascii (true, false, false, true, false, true, true, false)), (String
-      ((Ascii (false, false, true, false, true, true, true, false)), (String
-      ((Ascii (true, false, true, false, false, false, true, false)), (String
-      ((Ascii (false, true, true, true, false, true, true, false)), (String
-      ((Ascii (false, false, true, false, true, true, true, false)), (String
-      ((Ascii (false, true, false, false, true, true, true, false)), (String
-      ((Ascii (true, false, false, true, true, true, true, false)), (String
-      ((Ascii (false, false, true, false, false, false, true, false)),
-      (String ((Ascii (true, true, true, true, false, true, true, false)),
-      (String ((Ascii (false, false, true, true, false, true, true, false)),
-      (String ((Ascii (false, false, true, true, false, true, true, false)),
-      (String ((Ascii (true, false, false, false, false, true, true, false)),
-      (String ((Ascii (false, true, false, false, true, true, true, false)),
-      (String ((Ascii (true, false, false, false, false, false, true,
-      false)), (String ((Ascii (true, false, true, true, false, true, true,
-      false)), (String ((Ascii (true, true, true, true, false, true, true,
-      false)), (String ((Ascii (true, false, true, false, true, true, true,
-      false)), (String ((Ascii (false, true, true, true, false, true, true,
-      false)), (String ((Ascii (false, false, true, false, true, true, true,
-      false)), (String ((Ascii (true, false, false, true, false, false, true,
-      false)), (String ((Ascii (false, true, true, true, false, true, true,
-      false)), (String ((Ascii (false, true, true, false, false, false, true,
-      false)), (String ((Ascii (true, false, false, true, false, true, true,
-      false)), (String ((Ascii (false, false, true, true, false, true, true,
-      false)), (String ((Ascii (true, false, true, false, false, true, true,
-      false)),
-      EmptyString))))))))))))))))))))))))))))))))))))))))))))))))))))))))))))))))))
-      ((String ((Ascii (false, false, false, false, true, true, true,
-      false)), (String ((Ascii (true, false, false, false, false, true, true,
-      false)), (String ((Ascii (false, true, false, false, true, true, true,
-      false)), (String ((Ascii (true, true, false, false, true, true, true,
-      false)), (String ((Ascii (true, false, true, false, false, true, true,
-      false)), (String ((Ascii (false, true, true, true, false, false, true,
-      false)), (String ((Ascii (true, false, true, false, true, true, true,
-      false)), (String ((Ascii (true, false, true, true, false, true, true,
-      false)), (String ((Ascii (false, true, true, false, false, false, true,
-      false)), (String ((Ascii (true, false, false, true, false, true, true,
-      false)), (String ((Ascii (true, false, true, false, false, true, true,
-      false)), (String ((Ascii (false, false, true, true, false, true, true,
-      false)), (String ((Ascii (false, false, true, false, false, true, true,
-      false)), EmptyString)))))))))))))))))))))))))) :: [])) :: ((mkcut (S (S
-                                                                   (S (S (S
-                                                                   (S (S (S
-                                                                   (S (S (S
-                                                                   (S (S (S
-                                                                   (S (S (S
-                                                                   (S (S (S
-                                                                   (S (S (S
-                                                                   (S (S (S
-                                                                   (S (S (S
-                                                                   (S (S (S
-                                                                   (S (S (S
-                                                                   (S (S (S
-                                                                   (S (S (S
-                                                                   (S (S (S
-                                                                   (S (S (S
-                                                                   (S (S (S
-                                                                   (S
-                                                                   O)))))))))))))))))))))))))))))))))))))))))))))))))))
-                                                                   (S (S (S
-                                                                   (S (S (S
-                                                                   (S (S (S
-                                                                   (S (S (S
-                                                                   (S (S (S
-                                                                   (S (S (S
-                                                                   (S (S (S
-                                                                   (S (S (S
-                                                                   (S (S (S
-                                                                   (S (S (S
-                                                                   (S (S (S
-                                                                   (S (S (S
-                                                                   (S (S (S
-                                                                   (S (S (S
-                                                                   (S (S (S
-                                                                   (S (S (S
-                                                                   (S (S (S
-                                                                   (S (S (S
-                                                                   (S (S (S
-                                                                   (S (S (S
-                                                                   (S (S (S
-                                                                   (S (S (S
-                                                                   (S (S (S
-                                                                   (S (S
-                                                                   O)))))))))))))))))))))))))))))))))))))))))))))))))))))))))))))))))))))))
-                                                                   (String
-                                                                   ((Ascii
-                                                                   (false,
-                                                                   false,
-                                                                   true,
-                                                                   false,
-                                                                   true,
-                                                                   false,
-                                                                   true,
-                                                                   false)),
-                                                                   (String
-                                                                   ((Ascii
-                                                                   (true,
-                                                                   true,
-                                                                   true,
-                                                                   true,
-                                                                   false,
-                                                                   true,
-                                                                   true,
-                                                                   false)),
-                                                                   (String
-                                                                   ((Ascii
-                                                                   (false,
-                                                                   false,
-                                                                   true,
-                                                                   false,
-                                                                   true,
-                                                                   true,
-                                                                   true,
-                                                                   false)),
-                                                                   (String
-                                                                   ((Ascii
-                                                                   (true,
-                                                                   false,
-                                                                   false,
-                                                                   false,
-                                                                   false,
-                                                                   true,
-                                                                   true,
-                                                                   false)),
-                                                                   (String
-                                                                   ((Ascii
-                                                                   (false,
-                                                                   false,
-                                                                   true,
-                                                                   true,
-                                                                   false,
-                                                                   true,
-                                                                   true,
-                                                                   false)),
-                                                                   (String
-                                                                   ((Ascii
-                                                                   (true,
-                                                                   true,
-                                                                   false,
-                                                                   false,
-                                                                   false,
-                                                                   false,
-                                                                   true,
-                                                                   false)),
-                                                                   (String
-                                                                   ((Ascii
-                                                                   (false,
-                                                                   true,
-                                                                   false,
-                                                                   false,
-                                                                   true,
-                                                                   true,
-                                                                   true,
-                                                                   false)),
-                                                                   (String
-                                                                   ((Ascii
-                                                                   (true,
-                                                                   false,
-                                                                   true,
-                                                                   false,
-                                                                   false,
-                                                                   true,
-                                                                   true,
-                                                                   false)),
-                                                                   (String
-                                                                   ((Ascii
-                                                                   (false,
-                                                                   false,
-                                                                   true,
-                                                                   false,
-                                                                   false,
-                                                                   true,
-                                                                   true,
-                                                                   false)),
-                                                                   (String
-                                                                   ((Ascii
-                                                                   (true,
-                                                                   false,
-                                                                   false,
-                                                                   true,
-                                                                   false,
-                                                                   true,
-                                                                   true,
-                                                                   false)),
-                                                                   (String
-                                                                   ((Ascii
-                                                                   (false,
-                                                                   false,
-                                                                   true,
-                                                                   false,
-                                                                   true,
-                                                                   true,
-                                                                   true,
-                                                                   false)),
-                                                                   (String
-                                                                   ((Ascii
-                                                                   (true,
-                                                                   false,
-                                                                   true,
-                                                                   false,
-                                                                   false,
-                                                                   false,
-                                                                   true,
-                                                                   false)),
-                                                                   (String
-                                                                   ((Ascii
-                                                                   (false,
-                                                                   true,
-                                                                   true,
-                                                                   true,
-                                                                   false,
-                                                                   true,
-                                                                   true,
-                                                                   false)),
-                                                                   (String
-                                                                   ((Ascii
-                                                                   (false,
-                                                                   false,
-                                                                   true,
-                                                                   false,
-                                                                   true,
-                                                                   true,
-                                                                   true,
-                                                                   false)),
-                                                                   (String
-                                                                   ((Ascii
-                                                                   (false,
-                                                                   true,
-                                                                   false,
-                                                                   false,
-                                                                   true,
-                                                                   true,
-                                                                   true,
-                                                                   false)),
-                                                                   (String
-                                                                   ((Ascii
-                                                                   (true,
-                                                                   false,
-                                                                   false,
-                                                                   true,
-                                                                   true,
-                                                                   true,
-                                                                   true,
-                                                                   false)),
-                                                                   (String
-                                                                   ((Ascii
-                                                                   (false,
-                                                                   false,
-                                                                   true,
-                                                                   false,
-                                                                   false,
-                                                                   false,
-                                                                   true,
-                                                                   false)),
-                                                                   (String
-                                                                   ((Ascii
-                                                                   (true,
-                                                                   true,
-                                                                   true,
-                                                                   true,
-                                                                   false,
-                                                                   true,
-                                                                   true,
-                                                                   false)),
-                                                                   (String
-                                                                   ((Ascii
-                                                                   (false,
-                                                                   false,
-                                                                   true,
-                                                                   true,
-                                                                   false,
-                                                                   true,
-                                                                   true,
-                                                                   false)),
-                                                                   (String
-                                                                   ((Ascii
-                                                                   (false,
-                                                                   false,
-                                                                   true,
-                                                                   true,
-                                                                   false,
-                                                                   true,
-                                                                   true,
-                                                                   false)),
-                                                                   (String
-                                                                   ((Ascii
-                                                                   (true,
-                                                                   false,
-                                                                   false,
-                                                                   false,
-                                                                   false,
-                                                                   true,
-                                                                   true,
-                                                                   false)),
-                                                                   (String
-                                                                   ((Ascii
-                                                                   (false,
-                                                                   true,
-                                                                   false,
-                                                                   false,
-                                                                   true,
-                                                                   true,
-                                                                   true,
-                                                                   false)),
-                                                                   (String
-                                                                   ((Ascii
-                                                                   (true,
-                                                                   false,
-                                                                   false,
-                                                                   false,
-                                                                   false,
-                                                                   false,
-                                                                   true,
-                                                                   false)),
-                                                                   (String
-                                                                   ((Ascii
-                                                                   (true,
-                                                                   false,
-                                                                   true,
-                                                                   true,
-                                                                   false,
-                                                                   true,
-                                                                   true,
-                                                                   false)),
-                                                                   (String
-                                                                   ((Ascii
-                                                                   (true,
-                                                                   true,
-                                                                   true,
-                                                                   true,
-                                                                   false,
-                                                                   true,
-                                                                   true,
-                                                                   false)),
-                                                                   (String
-                                                                   ((Ascii
-                                                                   (true,
-                                                                   false,
-                                                                   true,
-                                                                   false,
-                                                                   true,
-                                                                   true,
-                                                                   true,
-                                                                   false)),
-                                                                   (String
-                                                                   ((Ascii
-                                                                   (false,
-                                                                   true,
-                                                                   true,
-                                                                   true,
-                                                                   false,
-                                                                   true,
-                                                                   true,
-                                                                   false)),
-                                                                   (String
-                                                                   ((Ascii
-                                                                   (false,
-                                                                   false,
-                                                                   true,
-                                                                   false,
-                                                                   true,
-                                                                   true,
-                                                                   true,
-                                                                   false)),
-                                                                   (String
-                                                                   ((Ascii
-                                                                   (true,
-                                                                   false,
-                                                                   false,
-                                                                   true,
-                                                                   false,
-                                                                   false,
-                                                                   true,
-                                                                   false)),
-                                                                   (String
-                                                                   ((Ascii
-                                                                   (false,
-                                                                   true,
-                                                                   true,
-                                                                   true,
-                                                                   false,
-                                                                   true,
-                                                                   true,
-                                                                   false)),
-                                                                   (String
-                                                                   ((Ascii
-                                                                   (false,
-                                                                   true,
-                                                                   true,
-                                                                   false,
-                                                                   false,
-                                                                   false,
-                                                                   true,
-                                                                   false)),
-                                                                   (String
-                                                                   ((Ascii
-                                                                   (true,
-                                                                   false,
-                                                                   false,
-                                                                   true,
-                                                                   false,
-                                                                   true,
-                                                                   true,
-                                                                   false)),
-                                                                   (String
-                                                                   ((Ascii
-                                                                   (false,
-                                                                   false,
-                                                                   true,
-                                                                   true,
-                                                                   false,
-                                                                   true,
-                                                                   true,
-                                                                   false)),
-                                                                   (String
-                                                                   ((Ascii
-                                                                   (true,
-                                                                   false,
-                                                                   true,
-                                                                   false,
-                                                                   false,
-                                                                   true,
-                                                                   true,
-                                                                   false)),
-                                                                   EmptyString))))))))))))))))))))))))))))))))))))))))))))))))))))))))))))))))))))
-                                                                   ((String
-                                                                   ((Ascii
-                                                                   (false,
-                                                                   false,
-                                                                   false,
-                                                                   false,
-                                                                   true,
-                                                                   true,
-                                                                   true,
-                                                                   false)),
-                                                                   (String
-                                                                   ((Ascii
-                                                                   (true,
-                                                                   false,
-                                                                   false,
-                                                                   false,
-                                                                   false,
-                                                                   true,
-                                                                   true,
-                                                                   false)),
-                                                                   (String
-                                                                   ((Ascii
-                                                                   (false,
-                                                                   true,
-                                                                   false,
-                                                                   false,
-                                                                   true,
-                                                                   true,
-                                                                   true,
-                                                                   false)),
-                                                                   (String
-                                                                   ((Ascii
-                                                                   (true,
-                                                                   true,
-                                                                   false,
-                                                                   false,
-                                                                   true,
-                                                                   true,
-                                                                   true,
-                                                                   false)),
-                                                                   (String
-                                                                   ((Ascii
-                                                                   (true,
-                                                                   false,
-                                                                   true,
-                                                                   false,
-                                                                   false,
-                                                                   true,
-                                                                   true,
-                                                                   false)),
-                                                                   (String
-                                                                   ((Ascii
-                                                                   (false,
-                                                                   true,
-                                                                   true,
-                                                                   true,
-                                                                   false,
-                                                                   false,
-                                                                   true,
-                                                                   false)),
-                                                                   (String
-                                                                   ((Ascii
-                                                                   (true,
-                                                                   false,
-                                                                   true,
-                                                                   false,
-                                                                   true,
-                                                                   true,
-                                                                   true,
-                                                                   false)),
-                                                                   (String
-                                                                   ((Ascii
-                                                                   (true,
-                                                                   false,
-                                                                   true,
-                                                                   true,
-                                                                   false,
-                                                                   true,
-                                                                   true,
-                                                                   false)),
-                                                                   (String
-                                                                   ((Ascii
-                                                                   (false,
-                                                                   true,
-                                                                   true,
-                                                                   false,
-                                                                   false,
-                                                                   false,
-                                                                   true,
-                                                                   false)),
-                                                                   (String
-                                                                   ((Ascii
-                                                                   (true,
-                                                                   false,
-                                                                   false,
-                                                                   true,
-                                                                   false,
-                                                                   true,
-                                                                   true,
-                                                                   false)),
-                                                                   (String
-                                                                   ((Ascii
-                                                                   (true,
-                                                                   false,
-                                                                   true,
-                                                                   false,
-                                                                   false,
-                                                                   true,
-                                                                   true,
-                                                                   false)),
-                                                                   (String
-                                                                   ((Ascii
-                                                                   (false,
-                                                                   false,
-                                                                   true,
-                                                                   true,
-                                                                   false,
-                                                                   true,
-                                                                   true,
-                                                                   false)),
-                                                                   (String
-                                                                   ((Ascii
-                                                                   (false,
-                                                                   false,
-                                                                   true,
-                                                                   false,
-                                                                   false,
-                                                                   true,
-                                                                   true,
-                                                                   false)),
-                                                                   EmptyString)))))))))))))))))))))))))) :: [])) :: [])))))) }
-
-(** val l_Addenda02 : layout **)
-
-let l_Addenda02 =
-  { l_name = (String ((Ascii (true, false, false, false, false, false, true,
-    false)), (String ((Ascii (false, false, true, false, false, true, true,
-    false)), (String ((Ascii (false, false, true, false, false, true, true,
-    false)), (String ((Ascii (true, false, true, false, false, true, true,
-    false)), (String ((Ascii (false, true, true, true, false, true, true,
-    false)), (String ((Ascii (false, false, true, false, false, true, true,
-    false)), (String ((Ascii (true, false, false, false, false, true, true,
-    false)), (String ((Ascii (false, false, false, false, true, true, false,
-    false)), (String ((Ascii (false, true, false, false, true, true, false,
-    false)), EmptyString)))))))))))))))))); l_ix = IRune; l_segs = ((SLit
-    ((Npos (XI (XI (XI (XO (XI XH)))))) :: [])) :: ((SRaw (String ((Ascii
-    (false, false, true, false, true, false, true, false)), (String ((Ascii
-    (true, false, false, true, true, true, true, false)), (String ((Ascii
-    (false, false, false, false, true, true, true, false)), (String ((Ascii
-    (true, false, true, false, false, true, true, false)), (String ((Ascii
-    (true, true, false, false, false, false, true, false)), (String ((Ascii
-    (true, true, true, true, false, true, true, false)), (String ((Ascii
-    (false, false, true, false, false, true, true, false)), (String ((Ascii
-    (true, false, true, false, false, true, true, false)),
-    EmptyString))))))))))))))))) :: ((SAlpha ((String ((Ascii (false, true,
-    false, false, true, false, true, false)), (String ((Ascii (true, false,
-    true, false, false, true, true, false)), (String ((Ascii (false, true,
-    true, false, false, true, true, false)), (String ((Ascii (true, false,
-    true, false, false, true, true, false)), (String ((Ascii (false, true,
-    false, false, true, true, true, false)), (String ((Ascii (true, false,
-    true, false, false, true, true, false)), (String ((Ascii (false, true,
-    true, true, false, true, true, false)), (String ((Ascii (true, true,
-    false, false, false, true, true, false)), (String ((Ascii (true, false,
-    true, false, false, true, true, false)), (String ((Ascii (true, false,
-    false, true, false, false, true, false)), (String ((Ascii (false, true,
-    true, true, false, true, true, false)), (String ((Ascii (false, true,
-    true, false, false, true, true, false)), (String ((Ascii (true, true,
-    true, true, false, true, true, false)), (String ((Ascii (false, true,
-    false, false, true, true, true, false)), (String ((Ascii (true, false,
-    true, true, false, true, true, false)), (String ((Ascii (true, false,
-    false, false, false, true, true, false)), (String ((Ascii (false, false,
-    true, false, true, true, true, false)), (String ((Ascii (true, false,
-    false, true, false, true, true, false)), (String ((Ascii (true, true,
-    true, true, false, true, true, false)), (String ((Ascii (false, true,
-    true, true, false, true, true, false)), (String ((Ascii (true, true,
-    true, true, false, false, true, false)), (String ((Ascii (false, true,
-    true, true, false, true, true, false)), (String ((Ascii (true, false,
-    true, false, false, true, true, false)),
-    EmptyString)))))))))))))))))))))))))))))))))))))))))))))), (S (S (S (S (S
-    (S (S O))))))))) :: ((SAlpha ((String ((Ascii (false, true, false, false,
-    true, false, true, false)), (String ((Ascii (true, false, true, false,
-    false, true, true, false)), (String ((Ascii (false, true, true, false,
-    false, true, true, false)), (String ((Ascii (true, false, true, false,
-    false, true, true, false)), (String ((Ascii (false, true, false, false,
-    true, true, true, false)), (String ((Ascii (true, false, true, false,
-    false, true, true, false)), (String ((Ascii (false, true, true, true,
-    false, true, true, false)), (String ((Ascii (true, true, false, false,
-    false, true, true, false)), (String ((Ascii (true, false, true, false,
-    false, true, true, false)), (String ((Ascii (true, false, false, true,
-    false, false, true, false)), (String ((Ascii (false, true, true, true,
-    false, true, true, false)), (String ((Ascii (false, true, true, false,
-    false, true, true, false)), (String ((Ascii (true, true, true, true,
-    false, true, true, false)), (String ((Ascii (false, true, false, false,
-    true, true, true, false)), (String ((Ascii (true, false, true, true,
-    false, true, true, false)), (String ((Ascii (true, false, false, false,
-    false, true, true, false)), (String ((Ascii (false, false, true, false,
-    true, true, true, false)), (String ((Ascii (true, false, false, true,
-    false, true, true, false)), (String ((Ascii (true, true, true, true,
-    false, true, true, false)), (String ((Ascii (false, true, true, true,
-    false, true, true, false)), (String ((Ascii (false, false, true, false,
-    true, false, true, false)), (String ((Ascii (true, true, true, false,
-    true, true, true, false)), (String ((Ascii (true, true, true, true,
-    false, true, true, false)),
-    EmptyString)))))))))))))))))))))))))))))))))))))))))))))), (S (S (S
-    O))))) :: ((SAlpha ((String ((Ascii (false, false, true, false, true,
-    false, true, false)), (String ((Ascii (true, false, true, false, false,
-    true, true, false)), (String ((Ascii (false, true, false, false, true,
-    true, true, false)), (String ((Ascii (true, false, true, true, false,
-    true, true, false)), (String ((Ascii (true, false, false, true, false,
-    true, true, false)), (String ((Ascii (false, true, true, true, false,
-    true, true, false)), (String ((Ascii (true, false, false, false, false,
-    true, true, false)), (String ((Ascii (false, false, true, true, false,
-    true, true, false)), (String ((Ascii (true, false, false, true, false,
-    false, true, false)), (String ((Ascii (false, false, true, false, false,
-    true, true, false)), (String ((Ascii (true, false, true, false, false,
-    true, true, false)), (String ((Ascii (false, true, true, true, false,
-    true, true, false)), (String ((Ascii (false, false, true, false, true,
-    true, true, false)), (String ((Ascii (true, false, false, true, false,
-    true, true, false)), (String ((Ascii (false, true, true, false, false,
-    true, true, false)), (String ((Ascii (true, false, false, true, false,
-    true, true, false)), (String ((Ascii (true, true, false, false, false,
-    true, true, false)), (String ((Ascii (true, false, false, false, false,
-    true, true, false)), (String ((Ascii (false, false, true, false, true,
-    true, true, false)), (String ((Ascii (true, false, false, true, false,
-    true, true, false)), (String ((Ascii (true, true, true, true, false,
-    true, true, false)), (String ((Ascii (false, true, true, true, false,
-    true, true, false)), (String ((Ascii (true, true, false, false, false,
-    false, true, false)), (String ((Ascii (true, true, true, true, false,
-    true, true, false)), (String ((Ascii (false, false, true, false, false,
-    true, true, false)), (String ((Ascii (true, false, true, false, false,
-    true, true, false)),
-    EmptyString)))))))))))))))))))))))))))))))))))))))))))))))))))), (S (S (S
-    (S (S (S O)))))))) :: ((SAlpha ((String ((Ascii (false, false, true,
-    false, true, false, true, false)), (String ((Ascii (false, true, false,
-    false, true, true, true, false)), (String ((Ascii (true, false, false,
-    false, false, true, true, false)), (String ((Ascii (false, true, true,
-    true, false, true, true, false)), (String ((Ascii (true, true, false,
-    false, true, true, true, false)), (String ((Ascii (true, false, false,
-    false, false, true, true, false)), (String ((Ascii (true, true, false,
-    false, false, true, true, false)), (String ((Ascii (false, false, true,
-    false, true, true, true, false)), (String ((Ascii (true, false, false,
-    true, false, true, true, false)), (String ((Ascii (true, true, true,
-    true, false, true, true, false)), (String ((Ascii (false, true, true,
-    true, false, true, true, false)), (String ((Ascii (true, true, false,
-    false, true, false, true, false)), (String ((Ascii (true, false, true,
-    false, false, true, true, false)), (String ((Ascii (false, true, false,
-    false, true, true, true, false)), (String ((Ascii (true, false, false,
-    true, false, true, true, false)), (String ((Ascii (true, false, false,
-    false, false, true, true, false)), (String ((Ascii (false, false, true,
-    true, false, true, true, false)), (String ((Ascii (false, true, true,
-    true, false, false, true, false)), (String ((Ascii (true, false, true,
-    false, true, true, true, false)), (String ((Ascii (true, false, true,
-    true, false, true, true, false)), (String ((Ascii (false, true, false,
-    false, false, true, true, false)), (String ((Ascii (true, false, true,
-    false, false, true, true, false)), (String ((Ascii (false, true, false,
-    false, true, true, true, false)),
-    EmptyString)))))))))))))))))))))))))))))))))))))))))))))), (S (S (S (S (S
-    (S O)))))))) :: ((SAlpha ((String ((Ascii (false, false, true, false,
-    true, false, true, false)), (String ((Ascii (false, true, false, false,
-    true, true, true, false)), (String ((Ascii (true, false, false, false,
-    false, true, true, false)), (String ((Ascii (false, true, true, true,
-    false, true, true, false)), (String ((Ascii (true, true, false, false,
-    true, true, true, false)), (String ((Ascii (true, false, false, false,
-    false, true, true, false)), (String ((Ascii (true, true, false, false,
-    false, true, true, false)), (String ((Ascii (false, false, true, false,
-    true, true, true, false)), (String ((Ascii (true, false, false, true,
-    false, true, true, false)), (String ((Ascii (true, true, true, true,
-    false, true, true, false)), (String ((Ascii (false, true, true, true,
-    false, true, true, false)), (String ((Ascii (false, false, true, false,
-    false, false, true, false)), (String ((Ascii (true, false, false, false,
-    false, true, true, false)), (String ((Ascii (false, false, true, false,
-    true, true, true, false)), (String ((Ascii (true, false, true, false,
-    false, true, true, false)), EmptyString)))))))))))))))))))))))))))))), (S
-    (S (S (S O)))))) :: ((SAlpha ((String ((Ascii (true, false, false, false,
-    false, false, true, false)), (String ((Ascii (true, false, true, false,
-    true, true, true, false)), (String ((Ascii (false, false, true, false,
-    true, true, true, false)), (String ((Ascii (false, false, false, true,
-    false, true, true, false)), (String ((Ascii (true, true, true, true,
-    false, true, true, false)), (String ((Ascii (false, true, false, false,
-    true, true, true, false)), (String ((Ascii (true, false, false, true,
-    false, true, true, false)), (String ((Ascii (false, true, false, true,
-    true, true, true, false)), (String ((Ascii (true, false, false, false,
-    false, true, true, false)), (String ((Ascii (false, false, true, false,
-    true, true, true, false)), (String ((Ascii (true, false, false, true,
-    false, true, true, false)), (String ((Ascii (true, true, true, true,
-    false, true, true, false)), (String ((Ascii (false, true, true, true,
-    false, true, true, false)), (String ((Ascii (true, true, false, false,
-    false, false, true, false)), (String ((Ascii (true, true, true, true,
-    false, true, true, false)), (String ((Ascii (false, false, true, false,
-    false, true, true, false)), (String ((Ascii (true, false, true, false,
-    false, true, true, false)), (String ((Ascii (true, true, true, true,
-    false, false, true, false)), (String ((Ascii (false, true, false, false,
-    true, true, true, false)), (String ((Ascii (true, false, true, false,
-    false, false, true, false)), (String ((Ascii (false, false, false, true,
-    true, true, true, false)), (String ((Ascii (false, false, false, false,
-    true, true, true, false)), (String ((Ascii (true, false, false, true,
-    false, true, true, false)), (String ((Ascii (false, true, false, false,
-    true, true, true, false)), (String ((Ascii (true, false, true, false,
-    false, true, true, false)), (String ((Ascii (false, false, true, false,
-    false, false, true, false)), (String ((Ascii (true, false, false, false,
-    false, true, true, false)), (String ((Ascii (false, false, true, false,
-    true, true, true, false)), (String ((Ascii (true, false, true, false,
-    false, true, true, false)),
-    EmptyString)))))))))))))))))))))))))))))))))))))))))))))))))))))))))), (S
-    (S (S (S (S (S O)))))))) :: ((SAlpha ((String ((Ascii (false, false,
-    true, false, true, false, true, false)), (String ((Ascii (true, false,
-    true, false, false, true, true, false)), (String ((Ascii (false, true,
-    false, false, true, true, true, false)), (String ((Ascii (true, false,
-    true, true, false, true, true, false)), (String ((Ascii (true, false,
-    false, true, false, true, true, false)), (String ((Ascii (false, true,
-    true, true, false, true, true, false)), (String ((Ascii (true, false,
-    false, false, false, true, true, false)), (String ((Ascii (false, false,
-    true, true, false, true, true, false)), (String ((Ascii (false, false,
-    true, true, false, false, true, false)), (String ((Ascii (true, true,
-    true, true, false, true, true, false)), (String ((Ascii (true, true,
-    false, false, false, true, true, false)), (String ((Ascii (true, false,
-    false, false, false, true, true, false)), (String ((Ascii (false, false,
-    true, false, true, true, true, false)), (String ((Ascii (true, false,
-    false, true, false, true, true, false)), (String ((Ascii (true, true,
-    true, true, false, true, true, false)), (String ((Ascii (false, true,
-    true, true, false, true, true, false)),
-    EmptyString)))))))))))))))))))))))))))))))), (S (S (S (S (S (S (S (S (S
-    (S (S (S (S (S (S (S (S (S (S (S (S (S (S (S (S (S (S
-    O))))))))))))))))))))))))))))) :: ((SAlpha ((String ((Ascii (false,
-    false, true, false, true, false, true, false)), (String ((Ascii (true,
-    false, true, false, false, true, true, false)), (String ((Ascii (false,
-    true, false, false, true, true, true, false)), (String ((Ascii (true,
-    false, true, true, false, true, true, false)), (String ((Ascii (true,
-    false, false, true, false, true, true, false)), (String ((Ascii (false,
-    true, true, true, false, true, true, false)), (String ((Ascii (true,
-    false, false, false, false, true, true, false)), (String ((Ascii (false,
-    false, true, true, false, true, true, false)), (String ((Ascii (true,
-    true, false, false, false, false, true, false)), (String ((Ascii (true,
-    false, false, true, false, true, true, false)), (String ((Ascii (false,
-    false, true, false, true, true, true, false)), (String ((Ascii (true,
-    false, false, true, true, true, true, false)),
-    EmptyString)))))))))))))))))))))))), (S (S (S (S (S (S (S (S (S (S (S (S
-    (S (S (S O))))))))))))))))) :: ((SAlpha ((String ((Ascii (false, false,
-    true, false, true, false, true, false)), (String ((Ascii (true, false,
-    true, false, false, true, true, false)), (String ((Ascii (false, true,
-    false, false, true, true, true, false)), (String ((Ascii (true, false,
-    true, true, false, true, true, false)), (String ((Ascii (true, false,
-    false, true, false, true, true, false)), (String ((Ascii (false, true,
-    true, true, false, true, true, false)), (String ((Ascii (true, false,
-    false, false, false, true, true, false)), (String ((Ascii (false, false,
-    true, true, false, true, true, false)), (String ((Ascii (true, true,
-    false, false, true, false, true, false)), (String ((Ascii (false, false,
-    true, false, true, true, true, false)), (String ((Ascii (true, false,
-    false, false, false, true, true, false)), (String ((Ascii (false, false,
-    true, false, true, true, true, false)), (String ((Ascii (true, false,
-    true, false, false, true, true, false)),
-    EmptyString)))))))))))))))))))))))))), (S (S O)))) :: ((SStr ((String
-    ((Ascii (false, false, true, false, true, false, true, false)), (String
-    ((Ascii (false, true, false, false, true, true, true, false)), (String
-    ((Ascii (true, false, false, false, false, true, true, false)), (String
-    ((Ascii (true, true, false, false, false, true, true, false)), (String
-    ((Ascii (true, false, true, false, false, true, true, false)), (String
-    ((Ascii (false, true, true, true, false, false, true, false)), (String
-    ((Ascii (true, false, true, false, true, true, true, false)), (String
-    ((Ascii (true, false, true, true, false, true, true, false)), (String
-    ((Ascii (false, true, false, false, false, true, true, false)), (String
-    ((Ascii (true, false, true, false, false, true, true, false)), (String
-    ((Ascii (false, true, false, false, true, true, true, false)),
-    EmptyString)))))))))))))))))))))), (S (S (S (S (S (S (S (S (S (S (S (S (S
-    (S (S O))))))))))))))))) :: [])))))))))))); l_cuts =
-    ((mkcut O (S O) EmptyString []) :: ((mkcut (S O) (S (S (S O))) (String
-                                          ((Ascii (false, false, true, false,
-                                          true, false, true, false)), (String
-                                          ((Ascii (true, false, false, true,
-                                          true, true, true, false)), (String
-                                          ((Ascii (false, false, false,
-                                          false, true, true, true, false)),
-                                          (String ((Ascii (true, false, true,
-                                          false, false, true, true, false)),
-                                          (String ((Ascii (true, true, false,
-                                          false, false, false, true, false)),
-                                          (String ((Ascii (true, true, true,
-                                          true, false, true, true, false)),
-                                          (String ((Ascii (false, false,
-                                          true, false, false, true, true,
-                                          false)), (String ((Ascii (true,
-                                          false, true, false, false, true,
-                                          true, false)),
-                                          EmptyString)))))))))))))))) []) :: (
-    (mkcut (S (S (S O))) (S (S (S (S (S (S (S (S (S (S O)))))))))) (String
-      ((Ascii (false, true, false, false, true, false, true, false)), (String
-      ((Ascii (true, false, true, false, false, true, true, false)), (String
-      ((Ascii (false, true, true, false, false, true, true, false)), (String
-      ((Ascii (true, false, true, false, false, true, true, false)), (String
-      ((Ascii (false, true, false, false, true, true, true, false)), (String
-      ((Ascii (true, false, true, false, false, true, true, false)), (String
-      ((Ascii (false, true, true, true, false, true, true, false)), (String
-      ((Ascii (true, true, false, false, false, true, true, false)), (String
-      ((Ascii (true, false, true, false, false, true, true, false)), (String
-      ((Ascii (true, false, false, true, false, false, true, false)), (String
-      ((Ascii (false, true, true, true, false, true, true, false)), (String
-      ((Ascii (false, true, true, false, false, true, true, false)), (String
-      ((Ascii (true, true, true, true, false, true, true, false)), (String
-      ((Ascii (false, true, false, false, true, true, true, false)), (String
-      ((Ascii (true, false, true, true, false, true, true, false)), (String
-      ((Ascii (true, false, false, false, false, true, true, false)), (String
-      ((Ascii (false, false, true, false, true, true, true, false)), (String
-      ((Ascii (true, false, false, true, false, true, true, false)), (String
-      ((Ascii (true, true, true, true, false, true, true, false)), (String
-      ((Ascii (false, true, true, true, false, true, true, false)), (String
-      ((Ascii (true, true, true, true, false, false, true, false)), (String
-      ((Ascii (false, true, true, true, false, true, true, false)), (String
-      ((Ascii (true, false, true, false, false, true, true, false)),
-      EmptyString)))))))))))))))))))))))))))))))))))))))))))))) ((String
-      ((Ascii (true, true, false, false, true, true, true, false)), (String
-      ((Ascii (false, false, true, false, true, true, true, false)), (String
-      ((Ascii (false, true, false, false, true, true, true, false)), (String
-      ((Ascii (true, false, false, true, false, true, true, false)), (String
-      ((Ascii (false, true, true, true, false, true, true, false)), (String
-      ((Ascii (true, true, true, false, false, true, true, false)), (String
-      ((Ascii (true, true, false, false, true, true, true, false)), (String
-      ((Ascii (false, true, true, true, false, true, false, false)), (String
-      ((Ascii (false, false, true, false, true, false, true, false)), (String
-      ((Ascii (false, true, false, false, true, true, true, false)), (String
-      ((Ascii (true, false, false, true, false, true, true, false)), (String
-      ((Ascii (true, false, true, true, false, true, true, false)), (String
-      ((Ascii (true, true, false, false, true, false, true, false)), (String
-      ((Ascii (false, false, false, false, true, true, true, false)), (String
-      ((Ascii (true, false, false, false, false, true, true, false)), (String
-      ((Ascii (true, true, false, false, false, true, true, false)), (String
-      ((Ascii (true, false, true, false, false, true, true, false)),
-      EmptyString)))))))))))))))))))))))))))))))))) :: [])) :: ((mkcut (S (S
-                                                                  (S (S (S (S
-                                                                  (S (S (S (S
-                                                                  O))))))))))
-                                                                  (S (S (S (S
-                                                                  (S (S (S (S
-                                                                  (S (S (S (S
-                                                                  (S
-                                                                  O)))))))))))))
-                                                                  (String
-                                                                  ((Ascii
-                                                                  (false,
-                                                                  true,
-                                                                  false,
-                                                                  false,
-                                                                  true,
-                                                                  false,
-                                                                  true,
-                                                                  false)),
-                                                                  (String
-                                                                  ((Ascii
-                                                                  (true,
-                                                                  false,
-                                                                  true,
-                                                                  false,
-                                                                  false,
-                                                                  true, true,
-                                                                  false)),
-                                                                  (String
-                                                                  ((Ascii
-                                                                  (false,
-                                                                  true, true,
-                                                                  false,
-                                                                  false,
-                                                                  true, true,
-                                                                  false)),
-                                                                  (String
-                                                                  ((Ascii
-                                                                  (true,
-                                                                  false,
-                                                                  true,
-                                                                  false,
-                                                                  false,
-                                                                  true, true,
-                                                                  false)),
-                                                                  (String
-                                                                  ((Ascii
-                                                                  (false,
-                                                                  true,
-                                                                  false,
-                                                                  false,
-                                                                  true, true,
-                                                                  true,
-                                                                  false)),
-                                                                  (String
-                                                                  ((Ascii
-                                                                  (true,
-                                                                  false,
-                                                                  true,
-                                                                  false,
-                                                                  false,
-                                                                  true, true,
-                                                                  false)),
-                                                                  (String
-                                                                  ((Ascii
-                                                                  (false,
-                                                                  true, true,
-                                                                  true,
-                                                                  false,
-                                                                  true, true,
-                                                                  false)),
-                                                                  (String
-                                                                  ((Ascii
-                                                                  (true,
-                                                                  true,
-                                                                  false,
-                                                                  false,
-                                                                  false,
-                                                                  true, true,
-                                                                  false)),
-                                                                  (String
-                                                                  ((Ascii
-                                                                  (true,
-                                                                  false,
-                                                                  true,
-                                                                  false,
-                                                                  false,
-                                                                  true, true,
-                                                                  false)),
-                                                                  (String
-                                                                  ((Ascii
-                                                                  (true,
-                                                                  false,
-                                                                  false,
-                                                                  true,
-                                                                  false,
-                                                                  false,
-                                                                  true,
-                                                                  false)),
-                                                                  (String
-                                                                  ((Ascii
-                                                                  (false,
-                                                                  true, true,
-                                                                  true,
-                                                                  false,
-                                                                  true, true,
-                                                                  false)),
-                                                                  (String
-                                                                  ((Ascii
-                                                                  (false,
-                                                                  true, true,
-                                                                  false,
-                                                                  false,
-                                                                  true, true,
-                                                                  false)),
-                                                                  (String
-                                                                  ((Ascii
-                                                                  (true,
-                                                                  true, true,
-                                                                  true,
-                                                                  false,
-                                                                  true, true,
-                                                                  false)),
-                                                                  (String
-                                                                  ((Ascii
-                                                                  (false,
-                                                                  true,
-                                                                  false,
-                                                                  false,
-                                                                  true, true,
-                                                                  true,
-                                                                  false)),
-                                                                  (String
-                                                                  ((Ascii
-                                                                  (true,
-                                                                  false,
-                                                                  true, true,
-                                                                  false,
-                                                                  true, true,
-                                                                  false)),
-                                                                  (String
-                                                                  ((Ascii
-                                                                  (true,
-                                                                  false,
-                                                                  false,
-                                                                  false,
-                                                                  false,
-                                                                  true, true,
-                                                                  false)),
-                                                                  (String
-                                                                  ((Ascii
-                                                                  (false,
-                                                                  false,
-                                                                  true,
-                                                                  false,
-                                                                  true, true,
-                                                                  true,
-                                                                  false)),
-                                                                  (String
-                                                                  ((Ascii
-                                                                  (true,
-                                                                  false,
-                                                                  false,
-                                                                  true,
-                                                                  false,
-                                                                  true, true,
-                                                                  false)),
-                                                                  (String
-                                                                  ((Ascii
-                                                                  (true,
-                                                                  true, true,
-                                                                  true,
-                                                                  false,
-                                                                  true, true,
-                                                                  false)),
-                                                                  (String
-                                                                  ((Ascii
-                                                                  (false,
-                                                                  true, true,
-                                                                  true,
-                                                                  false,
-                                                                  true, true,
-                                                                  false)),
-                                                                  (String
-                                                                  ((Ascii
-                                                                  (false,
-                                                                  false,
-                                                                  true,
-                                                                  false,
-                                                                  true,
-                                                                  false,
-                                                                  true,
-                                                                  false)),
-                                                                  (String
-                                                                  ((Ascii
-                                                                  (true,
-                                                                  true, true,
-                                                                  false,
-                                                                  true, true,
-                                                                  true,
-                                                                  false)),
-                                                                  (String
-                                                                  ((Ascii
-                                                                  (true,
-                                                                  true, true,
-                                                                  true,
-                                                                  false,
-                                                                  true, true,
-                                                                  false)),
-                                                                  EmptyString))))))))))))))))))))))))))))))))))))))))))))))
-                                                                  ((String
-                                                                  ((Ascii
-                                                                  (true,
-                                                                  true,
-                                                                  false,
-                                                                  false,
-                                                                  true, true,
-                                                                  true,
-                                                                  false)),
-                                                                  (String
-                                                                  ((Ascii
-                                                                  (false,
-                                                                  false,
-                                                                  true,
-                                                                  false,
-                                                                  true, true,
-                                                                  true,
-                                                                  false)),
-                                                                  (String
-                                                                  ((Ascii
-                                                                  (false,
-                                                                  true,
-                                                                  false,
-                                                                  false,
-                                                                  true, true,
-                                                                  true,
-                                                                  false)),
-                                                                  (String
-                                                                  ((Ascii
-                                                                  (true,
-                                                                  false,
-                                                                  false,
-                                                                  true,
-                                                                  false,
-                                                                  true, true,
-                                                                  false)),
-                                                                  (String
-                                                                  ((Ascii
-                                                                  (false,
-                                                                  true, true,
-                                                                  true,
-                                                                  false,
-                                                                  true, true,
-                                                                  false)),
-                                                                  (String
-                                                                  ((Ascii
-                                                                  (true,
-                                                                  true, true,
-                                                                  false,
-                                                                  false,
-                                                                  true, true,
-                                                                  false)),
-                                                                  (String
-                                                                  ((Ascii
-                                                                  (true,
-                                                                  true,
-                                                                  false,
-                                                                  false,
-                                                                  true, true,
-                                                                  true,
-                                                                  false)),
-                                                                  (String
-                                                                  ((Ascii
-                                                                  (false,
-                                                                  true, true,
-                                                                  true,
-                                                                  false,
-                                                                  true,
-                                                                  false,
-                                                                  false)),
-                                                                  (String
-                                                                  ((Ascii
-                                                                  (false,
-                                                                  false,
-                                                                  true,
-                                                                  false,
-                                                                  true,
-                                                                  false,
-                                                                  true,
-                                                                  false)),
-                                                                  (String
-                                                                  ((Ascii
-                                                                  (false,
-                                                                  true,
-                                                                  false,
-                                                                  false,
-                                                                  true, true,
-                                                                  true,
-                                                                  false)),
-                                                                  (String
-                                                                  ((Ascii
-                                                                  (true,
-                                                                  false,
-                                                                  false,
-                                                                  true,
-                                                                  false,
-                                                                  true, true,
-                                                                  false)),
-                                                                  (String
-                                                                  ((Ascii
-                                                                  (true,
-                                                                  false,
-                                                                  true, true,
-                                                                  false,
-                                                                  true, true,
-                                                                  false)),
-                                                                  (String
-                                                                  ((Ascii
-                                                                  (true,
-                                                                  true,
-                                                                  false,
-                                                                  false,
-                                                                  true,
-                                                                  false,
-                                                                  true,
-                                                                  false)),
-                                                                  (String
-                                                                  ((Ascii
-                                                                  (false,
-                                                                  false,
-                                                                  false,
-                                                                  false,
-                                                                  true, true,
-                                                                  true,
-                                                                  false)),
-                                                                  (String
-                                                                  ((Ascii
-                                                                  (true,
-                                                                  false,
-                                                                  false,
-                                                                  false,
-                                                                  false,
-                                                                  true, true,
-                                                                  false)),
-                                                                  (String
-                                                                  ((Ascii
-                                                                  (true,
-                                                                  true,
-                                                                  false,
-                                                                  false,
-                                                                  false,
-                                                                  true, true,
-                                                                  false)),
-                                                                  (String
-                                                                  ((Ascii
-                                                                  (true,
-                                                                  false,
-                                                                  true,
-                                                                  false,
-                                                                  false,
-                                                                  true, true,
-                                                                  false)),
-                                                                  EmptyString)))))))))))))))))))))))))))))))))) :: [])) :: (
-    (mkcut (S (S (S (S (S (S (S (S (S (S (S (S (S O))))))))))))) (S (S (S (S
-      (S (S (S (S (S (S (S (S (S (S (S (S (S (S (S O)))))))))))))))))))
-      (String ((Ascii (false, false, true, false, true, false, true, false)),
-      (String ((Ascii (true, false, true, false, false, true, true, false)),
-      (String ((Ascii (false, true, false, false, true, true, true, false)),
-      (String ((Ascii (true, false, true, true, false, true, true, false)),
-      (String ((Ascii (true, false, false, true, false, true, true, false)),
-      (String ((Ascii (false, true, true, true, false, true, true, false)),
-      (String ((Ascii (true, false, false, false, false, true, true, false)),
-      (String ((Ascii (false, false, true, true, false, true, true, false)),
-      (String ((Ascii (true, false, false, true, false, false, true, false)),
-      (String ((Ascii (false, false, true, false, false, true, true, false)),
-      (String ((Ascii (true, false, true, false, false, true, true, false)),
-      (String ((Ascii (false, true, true, true, false, true, true, false)),
-      (String ((Ascii (false, false, true, false, true, true, true, false)),
-      (String ((Ascii (true, false, false, true, false, true, true, false)),
-      (String ((Ascii (false, true, true, false, false, true, true, false)),
-      (String ((Ascii (true, false, false, true, false, true, true, false)),
-      (String ((Ascii (true, true, false, false, false, true, true, false)),
-      (String ((Ascii (true, false, false, false, false, true, true, false)),
-      (String ((Ascii (false, false, true, false, true, true, true, false)),
-      (String ((Ascii (true, false, false, true, false, true, true, false)),
-      (String ((Ascii (true, true, true, true, false, true, true, false)),
-      (String ((Ascii (false, true, true, true, false, true, true, false)),
-      (String ((Ascii (true, true, false, false, false, false, true, false)),
-      (String ((Ascii (true, true, true, true, false, true, true, false)),
-      (String ((Ascii (false, false, true, false, false, true, true, false)),
-      (String ((Ascii (true, false, true, false, false, true, true, false)),
-      EmptyString))))))))))))))))))))))))))))))))))))))))))))))))))))
-      ((String ((Ascii (true, true, false, false, true, true, true, false)),
-      (String ((Ascii (false, false, true, false, true, true, true, false)),
-      (String ((Ascii (false, true, false, false, true, true, true, false)),
-      (String ((Ascii (true, false, false, true, false, true, true, false)),
-      (String ((Ascii (false, true, true, true, false, true, true, false)),
-      (String ((Ascii (true, true, true, false, false, true, true, false)),
-      (String ((Ascii (true, true, false, false, true, true, true, false)),
-      (String ((Ascii (false, true, true, true, false, true, false, false)),
-      (String ((Ascii (false, false, true, false, true, false, true, false)),
-      (String ((Ascii (false, true, false, false, true, true, true, false)),
-      (String ((Ascii (true, false, false, true, false, true, true, false)),
-      (String ((Ascii (true, false, true, true, false, true, true, false)),
-      (String ((Ascii (true, true, false, false, true, false, true, false)),
-      (String ((Ascii (false, false, false, false, true, true, true, false)),
-      (String ((Ascii (true, false, false, false, false, true, true, false)),
-      (String ((Ascii (true, true, false, false, false, true, true, false)),
-      (String ((Ascii (true, false, true, false, false, true, true, false)),
-      EmptyString)))))))))))))))))))))))))))))))))) :: [])) :: ((mkcut (S (S
-                                                                  (S (S (S (S
-                                                                  (S (S (S (S
-                                                                  (S (S (S (S
-                                                                  (S (S (S (S
-                                                                  (S
-                                                                  O)))))))))))))))))))
-                                                                  (S (S (S (S
-                                                                  (S (S (S (S
-                                                                  (S (S (S (S
-                                                                  (S (S (S (S
-                                                                  (S (S (S (S
-                                                                  (S (S (S (S
-                                                                  (S
-                                                                  O)))))))))))))))))))))))))
-                                                                  (String
-                                                                  ((Ascii
-                                                                  (false,
-                                                                  false,
-                                                                  true,
-                                                                  false,
-                                                                  true,
-                                                                  false,
-                                                                  true,
-                                                                  false)),
-                                                                  (String
-                                                                  ((Ascii
-                                                                  (false,
-                                                                  true,
-                                                                  false,
-                                                                  false,
-                                                                  true, true,
-                                                                  true,
-                                                                  false)),
-                                                                  (String
-                                                                  ((Ascii
-                                                                  (true,
-                                                                  false,
-                                                                  false,
-                                                                  false,
-                                                                  false,
-                                                                  true, true,
-                                                                  false)),
-                                                                  (String
-                                                                  ((Ascii
-                                                                  (false,
-                                                                  true, true,
-                                                                  true,
-                                                                  false,
-                                                                  true, true,
-                                                                  false)),
-                                                                  (String
-                                                                  ((Ascii
-                                                                  (true,
-                                                                  true,
-                                                                  false,
-                                                                  false,
-                                                                  true, true,
-                                                                  true,
-                                                                  false)),
-                                                                  (String
-                                                                  ((Ascii
-                                                                  (true,
-                                                                  false,
-                                                                  false,
-                                                                  false,
-                                                                  false,
-                                                                  true, true,
-                                                                  false)),
-                                                                  (String
-                                                                  ((Ascii
-                                                                  (true,
-                                                                  true,
-                                                                  false,
-                                                                  false,
-                                                                  false,
-                                                                  true, true,
-                                                                  false)),
-                                                                  (String
-                                                                  ((Ascii
-                                                                  (false,
-                                                                  false,
-                                                                  true,
-                                                                  false,
-                                                                  true, true,
-                                                                  true,
-                                                                  false)),
-                                                                  (String
-                                                                  ((Ascii
-                                                                  (true,
-                                                                  false,
-                                                                  false,
-                                                                  true,
-                                                                  false,
-                                                                  true, true,
-                                                                  false)),
-                                                                  (String
-                                                                  ((Ascii
-                                                                  (true,
-                                                                  true, true,
-                                                                  true,
-                                                                  false,
-                                                                  true, true,
-                                                                  false)),
-                                                                  (String
-                                                                  ((Ascii
-                                                                  (false,
-                                                                  true, true,
-                                                                  true,
-                                                                  false,
-                                                                  true, true,
-                                                                  false)),
-                                                                  (String
-                                                                  ((Ascii
-                                                                  (true,
-                                                                  true,
-                                                                  false,
-                                                                  false,
-                                                                  true,
-                                                                  false,
-                                                                  true,
-                                                                  false)),
-                                                                  (String
-                                                                  ((Ascii
-                                                                  (true,
-                                                                  false,
-                                                                  true,
-                                                                  false,
-                                                                  false,
-                                                                  true, true,
-                                                                  false)),
-                                                                  (String
-                                                                  ((Ascii
-                                                                  (false,
-                                                                  true,
-                                                                  false,
-                                                                  false,
-                                                                  true, true,
-                                                                  true,
-                                                                  false)),
-                                                                  (String
-                                                                  ((Ascii
-                                                                  (true,
-                                                                  false,
-                                                                  false,
-                                                                  true,
-                                                                  false,
-                                                                  true, true,
-                                                                  false)),
-                                                                  (String
-                                                                  ((Ascii
-                                                                  (true,
-                                                                  false,
-                                                                  false,
-                                                                  false,
-                                                                  false,
-                                                                  true, true,
-                                                                  false)),
-                                                                  (String
-                                                                  ((Ascii
-                                                                  (false,
-                                                                  false,
-                                                                  true, true,
-                                                                  false,
-                                                                  true, true,
-                                                                  false)),
-                                                                  (String
-                                                                  ((Ascii
-                                                                  (false,
-                                                                  true, true,
-                                                                  true,
-                                                                  false,
-                                                                  false,
-                                                                  true,
-                                                                  false)),
-                                                                  (String
-                                                                  ((Ascii
-                                                                  (true,
-                                                                  false,
-                                                                  true,
-                                                                  false,
-                                                                  true, true,
-                                                                  true,
-                                                                  false)),
-                                                                  (String
-                                                                  ((Ascii
-                                                                  (true,
-                                                                  false,
-                                                                  true, true,
-                                                                  false,
-                                                                  true, true,
-                                                                  false)),
-                                                                  (String
-                                                                  ((Ascii
-                                                                  (false,
-                                                                  true,
-                                                                  false,
-                                                                  false,
-                                                                  false,
-                                                                  true, true,
-                                                                  false)),
-                                                                  (String
-                                                                  ((Ascii
-                                                                  (true,
-                                                                  false,
-                                                                  true,
-                                                                  false,
-                                                                  false,
-                                                                  true, true,
-                                                                  false)),
-                                                                  (String
-                                                                  ((Ascii
-                                                                  (false,
-                                                                  true,
-                                                                  false,
-                                                                  false,
-                                                                  true, true,
-                                                                  true,
-                                                                  false)),
-                                                                  EmptyString))))))))))))))))))))))))))))))))))))))))))))))
-                                                                  ((String
-                                                                  ((Ascii
-                                                                  (true,
-                                                                  true,
-                                                                  false,
-                                                                  false,
-                                                                  true, true,
-                                                                  true,
-                                                                  false)),
-                                                                  (String
-                                                                  ((Ascii
-                                                                  (false,
-                                                                  false,
-                                                                  true,
-                                                                  false,
-                                                                  true, true,
-                                                                  true,
-                                                                  false)),
-                                                                  (String
-                                                                  ((Ascii
-                                                                  (false,
-                                                                  true,
-                                                                  false,
-                                                                  false,
-                                                                  true, true,
-                                                                  true,
-                                                                  false)),
-                                                                  (String
-                                                                  ((Ascii
-                                                                  (true,
-                                                                  false,
-                                                                  false,
-                                                                  true,
-                                                                  false,
-                                                                  true, true,
-                                                                  false)),
-                                                                  (String
-                                                                  ((Ascii
-                                                                  (false,
-                                                                  true, true,
-                                                                  true,
-                                                                  false,
-                                                                  true, true,
-                                                                  false)),
-                                                                  (String
-                                                                  ((Ascii
-                                                                  (true,
-                                                                  true, true,
-                                                                  false,
-                                                                  false,
-                                                                  true, true,
-                                                                  false)),
-                                                                  (String
-                                                                  ((Ascii
-                                                                  (true,
-                                                                  true,
-                                                                  false,
-                                                                  false,
-                                                                  true, true,
-                                                                  true,
-                                                                  false)),
-                                                                  (String
-                                                                  ((Ascii
-                                                                  (false,
-                                                                  true, true,
-                                                                  true,
-                                                                  false,
-                                                                  true,
-                                                                  false,
-                                                                  false)),
-                                                                  (String
-                                                                  ((Ascii
-                                                                  (false,
-                                                                  false,
-                                                                  true,
-                                                                  false,
-                                                                  true,
-                                                                  false,
-                                                                  true,
-                                                                  false)),
-                                                                  (String
-                                                                  ((Ascii
-                                                                  (false,
-                                                                  true,
-                                                                  false,
-                                                                  false,
-                                                                  true, true,
-                                                                  true,
-                                                                  false)),
-                                                                  (String
-                                                                  ((Ascii
-                                                                  (true,
-                                                                  false,
-                                                                  false,
-                                                                  true,
-                                                                  false,
-                                                                  true, true,
-                                                                  false)),
-                                                                  (String
-                                                                  ((Ascii
-                                                                  (true,
-                                                                  false,
-                                                                  true, true,
-                                                                  false,
-                                                                  true, true,
-                                                                  false)),
-                                                                  (String
-                                                                  ((Ascii
-                                                                  (true,
-                                                                  true,
-                                                                  false,
-                                                                  false,
-                                                                  true,
-                                                                  false,
-                                                                  true,
-                                                                  false)),
-                                                                  (String
-                                                                  ((Ascii
-                                                                  (false,
-                                                                  false,
-                                                                  false,
-                                                                  false,
-                                                                  true, true,
-                                                                  true,
-                                                                  false)),
-                                                                  (String
-                                                                  ((Ascii
-                                                                  (true,
-                                                                  false,
-                                                                  false,
-                                                                  false,
-                                                                  false,
-                                                                  true, true,
-                                                                  false)),
-                                                                  (String
-                                                                  ((Ascii
-                                                                  (true,
-                                                                  true,
-                                                                  false,
-                                                                  false,
-                                                                  false,
-                                                                  true, true,
-                                                                  false)),
-                                                                  (String
-                                                                  ((Ascii
-                                                                  (true,
-                                                                  false,
-                                                                  true,
-                                                                  false,
-                                                                  false,
-                                                                  true, true,
-                                                                  false)),
-                                                                  EmptyString)))))))))))))))))))))))))))))))))) :: [])) :: (
-    (mkcut (S (S (S (S (S (S (S (S (S (S (S (S (S (S (S (S (S (S (S (S (S (S
-      (S (S (S O))))))))))))))))))))))))) (S (S (S (S (S (S (S (S (S (S (S (S
-      (S (S (S (S (S (S (S (S (S (S (S (S (S (S (S (S (S
-      O))))))))))))))))))))))))))))) (String ((Ascii (false, false, true,
-      false, true, false, true, false)), (String ((Ascii (false, true, false,
-      false, true, true, true, false)), (String ((Ascii (true, false, false,
-      false, false, true, true, false)), (String ((Ascii (false, true, true,
-      true, false, true, true, false)), (String ((Ascii (true, true, false,
-      false, true, true, true, false)), (String ((Ascii (true, false, false,
-      false, false, true, true, false)), (String ((Ascii (true, true, false,
-      false, false, true, true, false)), (String ((Ascii (false, false, true,
-      false, true, true, true, false)), (String ((Ascii (true, false, false,
-      true, false, true, true, false)), (String ((Ascii (true, true, true,
-      true, false, true, true, false)), (String ((Ascii (false, true, true,
-      true, false, true, true, false)), (String ((Ascii (false, false, true,
-      false, false, false, true, false)), (String ((Ascii (true, false,
-      false, false, false, true, true, false)), (String ((Ascii (false,
-      false, true, false, true, true, true, false)), (String ((Ascii (true,
-      false, true, false, false, true, true, false)),
-      EmptyString)))))))))))))))))))))))))))))) ((String ((Ascii (true, true,
-      false, false, true, true, true, false)), (String ((Ascii (false, false,
-      true, false, true, true, true, false)), (String ((Ascii (false, true,
-      false, false, true, true, true, false)), (String ((Ascii (true, false,
-      false, true, false, true, true, false)), (String ((Ascii (false, true,
-      true, true, false, true, true, false)), (String ((Ascii (true, true,
-      true, false, false, true, true, false)), (String ((Ascii (true, true,
-      false, false, true, true, true, false)), (String ((Ascii (false, true,
-      true, true, false, true, false, false)), (String ((Ascii (false, false,
-      true, false, true, false, true, false)), (String ((Ascii (false, true,
-      false, false, true, true, true, false)), (String ((Ascii (true, false,
-      false, true, false, true, true, false)), (String ((Ascii (true, false,
-      true, true, false, true, true, false)), (String ((Ascii (true, true,
-      false, false, true, false, true, false)), (String ((Ascii (false,
-      false, false, false, true, true, true, false)), (String ((Ascii (true,
-      false, false, false, false, true, true, false)), (String ((Ascii (true,
-      true, false, false, false, true, true, false)), (String ((Ascii (true,
-      false, true, false, false, true, true, false)),
-      EmptyString)))))))))))))))))))))))))))))))))) :: [])) :: ((mkcut (S (S
-                                                                  (S (S (S (S
-                                                                  (S (S (S (S
-                                                                  (S (S (S (S
-                                                                  (S (S (S (S
-                                                                  (S (S (S (S
-                                                                  (S (S (S (S
-                                                                  (S (S (S
-                                                                  O)))))))))))))))))))))))))))))
-                                                                  (S (S (S (S
-                                                                  (S (S (S (S
-                                                                  (S (S (S (S
-                                                                  (S (S (S (S
-                                                                  (S (S (S (S
-                                                                  (S (S (S (S
-                                                                  (S (S (S (S
-                                                                  (S (S (S (S
-                                                                  (S (S (S
-                                                                  O)))))))))))))))))))))))))))))))))))
-                                                                  (String
-                                                                  ((Ascii
-                                                                  (true,
-                                                                  false,
-                                                                  false,
-                                                                  false,
-                                                                  false,
-                                                                  false,
-                                                                  true,
-                                                                  false)),
-                                                                  (String
-                                                                  ((Ascii
-                                                                  (true,
-                                                                  false,
-                                                                  true,
-                                                                  false,
-                                                                  true, true,
-                                                                  true,
-                                                                  false)),
-                                                                  (String
-                                                                  ((Ascii
-                                                                  (false,
-                                                                  false,
-                                                                  true,
-                                                                  false,
-                                                                  true, true,
-                                                                  true,
-                                                                  false)),
-                                                                  (String
-                                                                  ((Ascii
-                                                                  (false,
-                                                                  false,
-                                                                  false,
-                                                                  true,
-                                                                  false,
-                                                                  true, true,
-                                                                  false)),
-                                                                  (String
-                                                                  ((Ascii
-                                                                  (true,
-                                                                  true, true,
-                                                                  true,
-                                                                  false,
-                                                                  true, true,
-                                                                  false)),
-                                                                  (String
-                                                                  ((Ascii
-                                                                  (false,
-                                                                  true,
-                                                                  false,
-                                                                  false,
-                                                                  true, true,
-                                                                  true,
-                                                                  false)),
-                                                                  (String
-                                                                  ((Ascii
-                                                                  (true,
-                                                                  false,
-                                                                  false,
-                                                                  true,
-                                                                  false,
-                                                                  true, true,
-                                                                  false)),
-                                                                  (String
-                                                                  ((Ascii
-                                                                  (false,
-                                                                  true,
-                                                                  false,
-                                                                  true, true,
-                                                                  true, true,
-                                                                  false)),
-                                                                  (String
-                                                                  ((Ascii
-                                                                  (true,
-                                                                  false,
-                                                                  false,
-                                                                  false,
-                                                                  false,
-                                                                  true, true,
-                                                                  false)),
-                                                                  (String
-                                                                  ((Ascii
-                                                                  (false,
-                                                                  false,
-                                                                  true,
-                                                                  false,
-                                                                  true, true,
-                                                                  true,
-                                                                  false)),
-                                                                  (String
-                                                                  ((Ascii
-                                                                  (true,
-                                                                  false,
-                                                                  false,
-                                                                  true,
-                                                                  false,
-                                                                  true, true,
-                                                                  false)),
-                                                                  (String
-                                                                  ((Ascii
-                                                                  (true,
-                                                                  true, true,
-                                                                  true,
-                                                                  false,
-                                                                  true, true,
-                                                                  false)),
-                                                                  (String
-                                                                  ((Ascii
-                                                                  (false,
-                                                                  true, true,
-                                                                  true,
-                                                                  false,
-                                                                  true, true,
-                                                                  false)),
-                                                                  (String
-                                                                  ((Ascii
-                                                                  (true,
-                                                                  true,
-                                                                  false,
-                                                                  false,
-                                                                  false,
-                                                                  false,
-                                                                  true,
-                                                                  false)),
-                                                                  (String
-                                                                  ((Ascii
-                                                                  (true,
-                                                                  true, true,
-                                                                  true,
-                                                                  false,
-                                                                  true, true,
-                                                                  false)),
-                                                                  (String
-                                                                  ((Ascii
-                                                                  (false,
-                                                                  false,
-                                                                  true,
-                                                                  false,
-                                                                  false,
-                                                                  true, true,
-                                                                  false)),
-                                                                  (String
-                                                                  ((Ascii
-                                                                  (true,
-                                                                  false,
-                                                                  true,
-                                                                  false,
-                                                                  false,
-                                                                  true, true,
-                                                                  false)),
-                                                                  (String
-                                                                  ((Ascii
-                                                                  (true,
-                                                                  true, true,
-                                                                  true,
-                                                                  false,
-                                                                  false,
-                                                                  true,
-                                                                  false)),
-                                                                  (String
-                                                                  ((Ascii
-                                                                  (false,
-                                                                  true,
-                                                                  false,
-                                                                  false,
-                                                                  true, true,
-                                                                  true,
-                                                                  false)),
-                                                                  (String
-                                                                  ((Ascii
-                                                                  (true,
-                                                                  false,
-                                                                  true,
-                                                                  false,
-                                                                  false,
-                                                                  false,
-                                                                  true,
-                                                                  false)),
-                                                                  (String
-                                                                  ((Ascii
-                                                                  (false,
-                                                                  false,
-                                                                  false,
-                                                                  true, true,
-                                                                  true, true,
-                                                                  false)),
-                                                                  (String
-                                                                  ((Ascii
-                                                                  (false,
-                                                                  false,
-                                                                  false,
-                                                                  false,
-                                                                  true, true,
-                                                                  true,
-                                                                  false)),
-                                                                  (String
-                                                                  ((Ascii
-                                                                  (true,
-                                                                  false,
-                                                                  false,
-                                                                  true,
-                                                                  false,
-                                                                  true, true,
-                                                                  false)),
-                                                                  (String
-                                                                  ((Ascii
-                                                                  (false,
-                                                                  true,
-                                                                  false,
-                                                                  false,
-                                                                  true, true,
-                                                                  true,
-                                                                  false)),
-                                                                  (String
-                                                                  ((Ascii
-                                                                  (true,
-                                                                  false,
-                                                                  true,
-                                                                  false,
-                                                                  false,
-                                                                  true, true,
-                                                                  false)),
-                                                                  (String
-                                                                  ((Ascii
-                                                                  (false,
-                                                                  false,
-                                                                  true,
-                                                                  false,
-                                                                  false,
-                                                                  false,
-                                                                  true,
-                                                                  false)),
-                                                                  (String
-                                                                  ((Ascii
-                                                                  (true,
-                                                                  false,
-                                                                  false,
-                                                                  false,
-                                                                  false,
-                                                                  true, true,
-                                                                  false)),
-                                                                  (String
-                                                                  ((Ascii
-                                                                  (false,
-                                                                  false,
-                                                                  true,
-                                                                  false,
-                                                                  true, true,
-                                                                  true,
-                                                                  false)),
-                                                                  (String
-                                                                  ((Ascii
-                                                                  (true,
-                                                                  false,
-                                                                  true,
-                                                                  false,
-                                                                  false,
-                                                                  true, true,
-                                                                  false)),
-                                                                  EmptyString))))))))))))))))))))))))))))))))))))))))))))))))))))))))))
-                                                                  ((String
-                                                                  ((Ascii
-                                                                  (true,
-                                                                  true,
-                                                                  false,
-                                                                  false,
-                                                                  true, true,
-                                                                  true,
-                                                                  false)),
-                                                                  (String
-                                                                  ((Ascii
-                                                                  (false,
-                                                                  false,
-                                                                  true,
-                                                                  false,
-                                                                  true, true,
-                                                                  true,
-                                                                  false)),
-                                                                  (String
-                                                                  ((Ascii
-                                                                  (false,
-                                                                  true,
-                                                                  false,
-                                                                  false,
-                                                                  true, true,
-                                                                  true,
-                                                                  false)),
-                                                                  (String
-                                                                  ((Ascii
-                                                                  (true,
-                                                                  false,
-                                                                  false,
-                                                                  true,
-                                                                  false,
-                                                                  true, true,
-                                                                  false)),
-                                                                  (String
-                                                                  ((Ascii
-                                                                  (false,
-                                                                  true, true,
-                                                                  true,
-                                                                  false,
-                                                                  true, true,
-                                                                  false)),
-                                                                  (String
-                                                                  ((Ascii
-                                                                  (true,
-                                                                  true, true,
-                                                                  false,
-                                                                  false,
-                                                                  true, true,
-                                                                  false)),
-                                                                  (String
-                                                                  ((Ascii
-                                                                  (true,
-                                                                  true,
-                                                                  false,
-                                                                  false,
-                                                                  true, true,
-                                                                  true,
-                                                                  false)),
-                                                                  (String
-                                                                  ((Ascii
-                                                                  (false,
-                                                                  true, true,
-                                                                  true,
-                                                                  false,
-                                                                  true,
-                                                                  false,
-                                                                  false)),
-                                                                  (String
-                                                                  ((Ascii
-                                                                  (false,
-                                                                  false,
-                                                                  true,
-                                                                  false,
-                                                                  true,
-                                                                  false,
-                                                                  true,
-                                                                  false)),
-                                                                  (String
-                                                                  ((Ascii
-                                                                  (false,
-                                                                  true,
-                                                                  false,
-                                                                  false,
-                                                                  true, true,
-                                                                  true,
-                                                                  false)),
-                                                                  (String
-                                                                  ((Ascii
-                                                                  (true,
-                                                                  false,
-                                                                  false,
-                                                                  true,
-                                                                  false,
-                                                                  true, true,
-                                                                  false)),
-                                                                  (String
-                                                                  ((Ascii
-                                                                  (true,
-                                                                  false,
-                                                                  true, true,
-                                                                  false,
-                                                                  true, true,
-                                                                  false)),
-                                                                  (String
-                                                                  ((Ascii
-                                                                  (true,
-                                                                  true,
-                                                                  false,
-                                                                  false,
-                                                                  true,
-                                                                  false,
-                                                                  true,
-                                                                  false)),
-                                                                  (String
-                                                                  ((Ascii
-                                                                  (false,
-                                                                  false,
-                                                                  false,
-                                                                  false,
-                                                                  true, true,
-                                                                  true,
-                                                                  false)),
-                                                                  (String
-                                                                  ((Ascii
-                                                                  (true,
-                                                                  false,
-                                                                  false,
-                                                                  false,
-                                                                  false,
-                                                                  true, true,
-                                                                  false)),
-                                                                  (String
-                                                                  ((Ascii
-                                                                  (true,
-                                                                  true,
-                                                                  false,
-                                                                  false,
-                                                                  false,
-                                                                  true, true,
-                                                                  false)),
-                                                                  (String
-                                                                  ((Ascii
-                                                                  (true,
-                                                                  false,
-                                                                  true,
-                                                                  false,
-                                                                  false,
-                                                                  true, true,
-                                                                  false)),
-                                                                  EmptyString)))))))))))))))))))))))))))))))))) :: [])) :: (
-    (mkcut (S (S (S (S (S (S (S (S (S (S (S (S (S (S (S (S (S (S (S (S (S (S
-      (S (S (S (S (S (S (S (S (S (S (S (S (S
-      O))))))))))))))))))))))))))))))))))) (S (S (S (S (S (S (S (S (S (S (S
-      (S (S (S (S (S (S (S (S (S (S (S (S (S (S (S (S (S (S (S (S (S (S (S (S
-      (S (S (S (S (S (S (S (S (S (S (S (S (S (S (S (S (S (S (S (S (S (S (S (S
-      (S (S (S
-      O)))))))))))))))))))))))))))))))))))))))))))))))))))))))))))))) (String
-      ((Ascii (false, false, true, false, true, false, true, false)), (String
-      ((Ascii (true, false, true, false, false, true, true, false)), (String
-      ((Ascii (false, true, false, false, true, true, true, false)), (String
-      ((Ascii (true, false, true, true, false, true, true, false)), (String
-      ((Ascii (true, false, false, true, false, true, true, false)), (String
-      ((Ascii (false, true, true, true, false, true, true, false)), (String
-      ((Ascii (true, false, false, false, false, true, true, false)), (String
-      ((Ascii (false, false, true, true, false, true, true, false)), (String
-      ((Ascii (false, false, true, true, false, false, true, false)), (String
-      ((Ascii (true, true, true, true, false, true, true, false)), (String
-      ((Ascii (true, true, false, false, false, true, true, false)), (String
-      ((Ascii (true, false, false, false, false, true, true, false)), (String
-      ((Ascii (false, false, true, false, true, true, true, false)), (String
-      ((Ascii (true, false, false, true, false, true, true, false)), (String
-      ((Ascii (true, true, true, true, false, true, true, false)), (String
-      ((Ascii (false, true, true, true, false, true, true, false)),
-      EmptyString)))))))))))))))))))))))))))))))) ((String ((Ascii (true,
-      true, false, false, true, true, true, false)), (String ((Ascii (false,
-      false, true, false, true, true, true, false)), (String ((Ascii (false,
-      true, false, false, true, true, true, false)), (String ((Ascii (true,
-      false, false, true, false, true, true, false)), (String ((Ascii (false,
-      true, true, true, false, true, true, false)), (String ((Ascii (true,
-      true, true, false, false, true, true, false)), (String ((Ascii (true,
-      true, false, false, true, true, true, false)), (String ((Ascii (false,
-      true, true, true, false, true, false, false)), (String ((Ascii (false,
-      false, true, false, true, false, true, false)), (String ((Ascii (false,
-      true, false, false, true, true, true, false)), (String ((Ascii (true,
-      false, false, true, false, true, true, false)), (String ((Ascii (true,
-      false, true, true, false, true, true, false)), (String ((Ascii (true,
-      true, false, false, true, false, true, false)), (String ((Ascii (false,
-      false, false, false, true, true, true, false)), (String ((Ascii (true,
-      false, false, false, false, true, true, false)), (String ((Ascii (true,
-      true, false, false, false, true, true, false)), (String ((Ascii (true,
-      false, true, false, false, true, true, false)),
-      EmptyString)))))))))))))))))))))))))))))))))) :: [])) :: ((mkcut (S (S
-                                                                  (S (S (S (S
-                                                                  (S (S (S (S
-                                                                  (S (S (S (S
-                                                                  (S (S (S (S
-                                                                  (S (S (S (S
-                                                                  (S (S (S (S
-                                                                  (S (S (S (S
-                                                                  (S (S (S (S
-                                                                  (S (S (S (S
-                                                                  (S (S (S (S
-                                                                  (S (S (S (S
-                                                                  (S (S (S (S
-                                                                  (S (S (S (S
-                                                                  (S (S (S (S
-                                                                  (S (S (S (S
-                                                                  O))))))))))))))))))))))))))))))))))))))))))))))))))))))))))))))
-                                                                  (S (S (S (S
-                                                                  (S (S (S (S
-                                                                  (S (S (S (S
-                                                                  (S (S (S (S
-                                                                  (S (S (S (S
-                                                                  (S (S (S (S
-                                                                  (S (S (S (S
-                                                                  (S (S (S (S
-                                                                  (S (S (S (S
-                                                                  (S (S (S (S
-                                                                  (S (S (S (S
-                                                                  (S (S (S (S
-                                                                  (S (S (S (S
-                                                                  (S (S (S (S
-                                                                  (S (S (S (S
-                                                                  (S (S (S (S
-                                                                  (S (S (S (S
-                                                                  (S (S (S (S
-                                                                  (S (S (S (S
-                                                                  (S
-                                                                  O)))))))))))))))))))))))))))))))))))))))))))))))))))))))))))))))))))))))))))))
-                                                                  (String
-                                                                  ((Ascii
-                                                                  (false,
-                                                                  false,
-                                                                  true,
-                                                                  false,
-                                                                  true,
-                                                                  false,
-                                                                  true,
-                                                                  false)),
-                                                                  (String
-                                                                  ((Ascii
-                                                                  (true,
-                                                                  false,
-                                                                  true,
-                                                                  false,
-                                                                  false,
-                                                                  true, true,
-                                                                  false)),
-                                                                  (String
-                                                                  ((Ascii
-                                                                  (false,
-                                                                  true,
-                                                                  false,
-                                                                  false,
-                                                                  true, true,
-                                                                  true,
-                                                                  false)),
-                                                                  (String
-                                                                  ((Ascii
-                                                                  (true,
-                                                                  false,
-                                                                  true, true,
-                                                                  false,
-                                                                  true, true,
-                                                                  false)),
-                                                                  (String
-                                                                  ((Ascii
-                                                                  (true,
-                                                                  false,
-                                                                  false,
-                                                                  true,
-                                                                  false,
-                                                                  true, true,
-                                                                  false)),
-                                                                  (String
-                                                                  ((Ascii
-                                                                  (false,
-                                                                  true, true,
-                                                                  true,
-                                                                  false,
-                                                                  true, true,
-                                                                  false)),
-                                                                  (String
-                                                                  ((Ascii
-                                                                  (true,
-                                                                  false,
-                                                                  false,
-                                                                  false,
-                                                                  false,
-                                                                  true, true,
-                                                                  false)),
-                                                                  (String
-                                                                  ((Ascii
-                                                                  (false,
-                                                                  false,
-                                                                  true, true,
-                                                                  false,
-                                                                  true, true,
-                                                                  false)),
-                                                                  (String
-                                                                  ((Ascii
-                                                                  (true,
-                                                                  true,
-                                                                  false,
-                                                                  false,
-                                                                  false,
-                                                                  false,
-                                                                  true,
-                                                                  false)),
-                                                                  (String
-                                                                  ((Ascii
-                                                                  (true,
-                                                                  false,
-                                                                  false,
-                                                                  true,
-                                                                  false,
-                                                                  true, true,
-                                                                  false)),
-                                                                  (String
-                                                                  ((Ascii
-                                                                  (false,
-                                                                  false,
-                                                                  true,
-                                                                  false,
-                                                                  true, true,
-                                                                  true,
-                                                                  false)),
-                                                                  (String
-                                                                  ((Ascii
-                                                                  (true,
-                                                                  false,
-                                                                  false,
-                                                                  true, true,
-                                                                  true, true,
-                                                                  false)),
-                                                                  EmptyString))))))))))))))))))))))))
-                                                                  ((String
-                                                                  ((Ascii
-                                                                  (true,
-                                                                  true,
-                                                                  false,
-                                                                  false,
-                                                                  true, true,
-                                                                  true,
-                                                                  false)),
-                                                                  (String
-                                                                  ((Ascii
-                                                                  (false,
-                                                                  false,
-                                                                  true,
-                                                                  false,
-                                                                  true, true,
-                                                                  true,
-                                                                  false)),
-                                                                  (String
-                                                                  ((Ascii
-                                                                  (false,
-                                                                  true,
-                                                                  false,
-                                                                  false,
-                                                                  true, true,
-                                                                  true,
-                                                                  false)),
-                                                                  (String
-                                                                  ((Ascii
-                                                                  (true,
-                                                                  false,
-                                                                  false,
-                                                                  true,
-                                                                  false,
-                                                                  true, true,
-                                                                  false)),
-                                                                  (String
-                                                                  ((Ascii
-                                                                  (false,
-                                                                  true, true,
-                                                                  true,
-                                                                  false,
-                                                                  true, true,
-                                                                  false)),
-                                                                  (String
-                                                                  ((Ascii
-                                                                  (true,
-                                                                  true, true,
-                                                                  false,
-                                                                  false,
-                                                                  true, true,
-                                                                  false)),
-                                                                  (String
-                                                                  ((Ascii
-                                                                  (true,
-                                                                  true,
-                                                                  false,
-                                                                  false,
-                                                                  true, true,
-                                                                  true,
-                                                                  false)),
-                                                                  (String
-                                                                  ((Ascii
-                                                                  (false,
-                                                                  true, true,
-                                                                  true,
-                                                                  false,
-                                                                  true,
-                                                                  false,
-                                                                  false)),
-                                                                  (String
-                                                                  ((Ascii
-                                                                  (false,
-                                                                  false,
-                                                                  true,
-                                                                  false,
-                                                                  true,
-                                                                  false,
-                                                                  true,
-                                                                  false)),
-                                                                  (String
-                                                                  ((Ascii
-                                                                  (false,
-                                                                  true,
-                                                                  false,
-                                                                  false,
-                                                                  true, true,
-                                                                  true,
-                                                                  false)),
-                                                                  (String
-                                                                  ((Ascii
-                                                                  (true,
-                                                                  false,
-                                                                  false,
-                                                                  true,
-                                                                  false,
-                                                                  true, true,
-                                                                  false)),
-                                                                  (String
-                                                                  ((Ascii
-                                                                  (true,
-                                                                  false,
-                                                                  true, true,
-                                                                  false,
-                                                                  true, true,
-                                                                  false)),
-                                                                  (String
-                                                                  ((Ascii
-                                                                  (true,
-                                                                  true,
-                                                                  false,
-                                                                  false,
-                                                                  true,
-                                                                  false,
-                                                                  true,
-                                                                  false)),
-                                                                  (String
-                                                                  ((Ascii
-                                                                  (false,
-                                                                  false,
-                                                                  false,
-                                                                  false,
-                                                                  true, true,
-                                                                  true,
-                                                                  false)),
-                                                                  (String
-                                                                  ((Ascii
-                                                                  (true,
-                                                                  false,
-                                                                  false,
-                                                                  false,
-                                                                  false,
-                                                                  true, true,
-                                                                  false)),
-                                                                  (String
-                                                                  ((Ascii
-                                                                  (true,
-                                                                  true,
-                                                                  false,
-                                                                  false,
-                                                                  false,
-                                                                  true, true,
-                                                                  false)),
-                                                                  (String
-                                                                  ((Ascii
-                                                                  (true,
-                                                                  false,
-                                                                  true,
-                                                                  false,
-                                                                  false,
-                                                                  true, true,
-                                                                  false)),
-                                                                  EmptyString)))))))))))))))))))))))))))))))))) :: [])) :: (
-    (mkcut (S (S (S (S (S (S (S (S (S (S (S (S (S (S (S (S (S (S (S (S (S (S
-      (S (S (S (S (S (S (S (S (S (S (S (S (S (S (S (S (S (S (S (S (S (S (S (S
-      (S (S (S (S (S (S (S (S (S (S (S (S (S (S (S (S (S (S (S (S (S (S (S (S
-      (S (S (S (S (S (S (S
-      O)))))))))))))))))))))))))))))))))))))))))))))))))))))))))))))))))))))))))))))
-      (S (S (S (S (S (S (S (S (S (S (S (S (S (S (S (S (S (S (S (S (S (S (S (S
-      (S (S (S (S (S (S (S (S (S (S (S (S (S (S (S (S (S (S (S (S (S (S (S (S
-      (S (S (S (S (S (S (S (S (S (S (S (S (S (S (S (S (S (S (S (S (S (S (S (S
-      (S (S (S (S (S (S (S
-      O)))))))))))))))))))))))))))))))))))))))))))))))))))))))))))))))))))))))))))))))
-      (String ((Ascii (false, false, true, false, true, false, true, false)),
-      (String ((Ascii (true, false, true, false, false, true, true, false)),
-      (String ((Ascii (false, true, false, false, true, true, true, false)),
-      (String ((Ascii (true, false, true, true, false, true, true, false)),
-      (String ((Ascii (true, false, false, true, false, true, true, false)),
-      (String ((Ascii (false, true, true, true, false, true, true, false)),
-      (String ((Ascii (true, false, false, false, false, true, true, false)),
-      (String ((Ascii (false, false, true, true, false, true, true, false)),
-      (String ((Ascii (true, true, false, false, true, false, true, false)),
-      (String ((Ascii (false, false, true, false, true, true, true, false)),
-      (String ((Ascii (true, false, false, false, false, true, true, false)),
-      (String ((Ascii (false, false, true, false, true, true, true, false)),
-      (String ((Ascii (true, false, true, false, false, true, true, false)),
-      EmptyString)))))))))))))))))))))))))) ((String ((Ascii (true, true,
-      false, false, true, true, true, false)), (String ((Ascii (false, false,
-      true, false, true, true, true, false)), (String ((Ascii (false, true,
-      false, false, true, true, true, false)), (String ((Ascii (true, false,
-      false, true, false, true, true, false)), (String ((Ascii (false, true,
-      true, true, false, true, true, false)), (String ((Ascii (true, true,
-      true, false, false, true, true, false)), (String ((Ascii (true, true,
-      false, false, true, true, true, false)), (String ((Ascii (false, true,
-      true, true, false, true, false, false)), (String ((Ascii (false, false,
-      true, false, true, false, true, false)), (String ((Ascii (false, true,
-      false, false, true, true, true, false)), (String ((Ascii (true, false,
-      false, true, false, true, true, false)), (String ((Ascii (true, false,
-      true, true, false, true, true, false)), (String ((Ascii (true, true,
-      false, false, true, false, true, false)), (String ((Ascii (false,
-      false, false, false, true, true, true, false)), (String ((Ascii (true,
-      false, false, false, false, true, true, false)), (String ((Ascii (true,
-      true, false, false, false, true, true, false)), (String ((Ascii (true,
-      false, true, false, false, true, true, false)),
-      EmptyString)))))))))))))))))))))))))))))))))) :: [])) :: ((mkcut (S (S
-                                                                  (S (S (S (S
-                                                                  (S (S (S (S
-                                                                  (S (S (S (S
-                                                                  (S (S (S (S
-                                                                  (S (S (S (S
-                                                                  (S (S (S (S
-                                                                  (S (S (S (S
-                                                                  (S (S (S (S
-                                                                  (S (S (S (S
-                                                                  (S (S (S (S
-                                                                  (S (S (S (S
-                                                                  (S (S (S (S
-                                                                  (S (S (S (S
-                                                                  (S (S (S (S
-                                                                  (S (S (S (S
-                                                                  (S (S (S (S
-                                                                  (S (S (S (S
-                                                                  (S (S (S (S
-                                                                  (S (S (S (S
-                                                                  (S
-                                                                  O)))))))))))))))))))))))))))))))))))))))))))))))))))))))))))))))))))))))))))))))
-                                                                  (S (S (S (S
-                                                                  (S (S (S (S
-                                                                  (S (S (S (S
-                                                                  (S (S (S (S
-                                                                  (S (S (S (S
-                                                                  (S (S (S (S
-                                                                  (S (S (S (S
-                                                                  (S (S (S (S
-                                                                  (S (S (S (S
-                                                                  (S (S (S (S
-                                                                  (S (S (S (S
-                                                                  (S (S (S (S
-                                                                  (S (S (S (S
-                                                                  (S (S (S (S
-                                                                  (S (S (S (S
-                                                                  (S (S (S (S
-                                                                  (S (S (S (S
-                                                                  (S (S (S (S
-                                                                  (S (S (S (S
-                                                                  (S (S (S (S
-                                                                  (S (S (S (S
-                                                                  (S (S (S (S
-                                                                  (S (S (S (S
-                                                                  (S (S
-                                                                  O))))))))))))))))))))))))))))))))))))))))))))))))))))))))))))))))))))))))))))))))))))))))))))))
-                                                                  (String
-                                                                  ((Ascii
-                                                                  (false,
-                                                                  false,
-                                                                  true,
-                                                                  false,
-                                                                  true,
-                                                                  false,
-                                                                  true,
-                                                                  false)),
-                                                                  (String
-                                                                  ((Ascii
-                                                                  (false,
-                                                                  true,
-                                                                  false,
-                                                                  false,
-                                                                  true, true,
-                                                                  true,
-                                                                  false)),
-                                                                  (String
-                                                                  ((Ascii
-                                                                  (true,
-                                                                  false,
-                                                                  false,
-                                                                  false,
-                                                                  false,
-                                                                  true, true,
-                                                                  false)),
-                                                                  (String
-                                                                  ((Ascii
-                                                                  (true,
-                                                                  true,
-                                                                  false,
-                                                                  false,
-                                                                  false,
-                                                                  true, true,
-                                                                  false)),
-                                                                  (String
-                                                                  ((Ascii
-                                                                  (true,
-                                                                  false,
-                                                                  true,
-                                                                  false,
-                                                                  false,
-                                                                  true, true,
-                                                                  false)),
-                                                                  (String
-                                                                  ((Ascii
-                                                                  (false,
-                                                                  true, true,
-                                                                  true,
-                                                                  false,
-                                                                  false,
-                                                                  true,
-                                                                  false)),
-                                                                  (String
-                                                                  ((Ascii
-                                                                  (true,
-                                                                  false,
-                                                                  true,
-                                                                  false,
-                                                                  true, true,
-                                                                  true,
-                                                                  false)),
-                                                                  (String
-                                                                  ((Ascii
-                                                                  (true,
-                                                                  false,
-                                                                  true, true,
-                                                                  false,
-                                                                  true, true,
-                                                                  false)),
-                                                                  (String
-                                                                  ((Ascii
-                                                                  (false,
-                                                                  true,
-                                                                  false,
-                                                                  false,
-                                                                  false,
-                                                                  true, true,
-                                                                  false)),
-                                                                  (String
-                                                                  ((Ascii
-                                                                  (true,
-                                                                  false,
-                                                                  true,
-                                                                  false,
-                                                                  false,
-                                                                  true, true,
-                                                                  false)),
-                                                                  (String
-                                                                  ((Ascii
-                                                                  (false,
-                                                                  true,
-                                                                  false,
-                                                                  false,
-                                                                  true, true,
-                                                                  true,
-                                                                  false)),
-                                                                  EmptyString))))))))))))))))))))))
-                                                                  ((String
-                                                                  ((Ascii
-                                                                  (true,
-                                                                  true,
-                                                                  false,
-                                                                  false,
-                                                                  true, true,
-                                                                  true,
-                                                                  false)),
-                                                                  (String
-                                                                  ((Ascii
-                                                                  (false,
-                                                                  false,
-                                                                  true,
-                                                                  false,
-                                                                  true, true,
-                                                                  true,
-                                                                  false)),
-                                                                  (String
-                                                                  ((Ascii
-                                                                  (false,
-                                                                  true,
-                                                                  false,
-                                                                  false,
-                                                                  true, true,
-                                                                  true,
-                                                                  false)),
-                                                                  (String
-                                                                  ((Ascii
-                                                                  (true,
-                                                                  false,
-                                                                  false,
-                                                                  true,
-                                                                  false,
-                                                                  true, true,
-                                                                  false)),
-                                                                  (String
-                                                                  ((Ascii
-                                                                  (false,
-                                                                  true, true,
-                                                                  true,
-                                                                  false,
-                                                                  true, true,
-                                                                  false)),
-                                                                  (String
-                                                                  ((Ascii
-                                                                  (true,
-                                                                  true, true,
-                                                                  false,
-                                                                  false,
-                                                                  true, true,
-                                                                  false)),
-                                                                  (String
-                                                                  ((Ascii
-                                                                  (true,
-                                                                  true,
-                                                                  false,
-                                                                  false,
-                                                                  true, true,
-                                                                  true,
-                                                                  false)),
-                                                                  (String
-                                                                  ((Ascii
-                                                                  (false,
-                                                                  true, true,
-                                                                  true,
-                                                                  false,
-                                                                  true,
-                                                                  false,
-                                                                  false)),
-                                                                  (String
-                                                                  ((Ascii
-                                                                  (false,
-                                                                  false,
-                                                                  true,
-                                                                  false,
-                                                                  true,
-                                                                  false,
-                                                                  true,
-                                                                  false)),
-                                                                  (String
-                                                                  ((Ascii
-                                                                  (false,
-                                                                  true,
-                                                                  false,
-                                                                  false,
-                                                                  true, true,
-                                                                  true,
-                                                                  false)),
-                                                                  (String
-                                                                  ((Ascii
-                                                                  (true,
-                                                                  false,
-                                                                  false,
-                                                                  true,
-                                                                  false,
-                                                                  true, true,
-                                                                  false)),
-                                                                  (String
-                                                                  ((Ascii
-                                                                  (true,
-                                                                  false,
-                                                                  true, true,
-                                                                  false,
-                                                                  true, true,
-                                                                  false)),
-                                                                  (String
-                                                                  ((Ascii
-                                                                  (true,
-                                                                  true,
-                                                                  false,
-                                                                  false,
-                                                                  true,
-                                                                  false,
-                                                                  true,
-                                                                  false)),
-                                                                  (String
-                                                                  ((Ascii
-                                                                  (false,
-                                                                  false,
-                                                                  false,
-                                                                  false,
-                                                                  true, true,
-                                                                  true,
-                                                                  false)),
-                                                                  (String
-                                                                  ((Ascii
-                                                                  (true,
-                                                                  false,
-                                                                  false,
-                                                                  false,
-                                                                  false,
-                                                                  true, true,
-                                                                  false)),
-                                                                  (String
-                                                                  ((Ascii
-                                                                  (true,
-                                                                  true,
-                                                                  false,
-                                                                  false,
-                                                                  false,
-                                                                  true, true,
-                                                                  false)),
-                                                                  (String
-                                                                  ((Ascii
-                                                                  (true,
-                                                                  false,
-                                                                  true,
-                                                                  false,
-                                                                  false,
-                                                                  true, true,
-                                                                  false)),
-                                                                  EmptyString)))))))))))))))))))))))))))))))))) :: [])) :: [])))))))))))) }
-
-(** val l_Addenda05 : layout **)
-
-let l_Addenda05 =
-  { l_name = (String ((Ascii (true, false, false, false, false, false, true,
-    false)), (String ((Ascii (false, false, true, false, false, true, true,
-    false)), (String ((Ascii (false, false, true, false, false, true, true,
-    false)), (String ((Ascii (true, false, true, false, false, true, true,
-    false)), (String ((Ascii (false, true, true, true, false, true, true,
-    false)), (String ((Ascii (false, false, true, false, false, true, true,
-    false)), (String ((Ascii (true, false, false, false, false, true, true,
-    false)), (String ((Ascii (false, false, false, false, true, true, false,
-    false)), (String ((Ascii (true, false, true, false, true, true, false,
-    false)), EmptyString)))))))))))))))))); l_ix = IRune; l_segs = ((SLit
-    ((Npos (XI (XI (XI (XO (XI XH)))))) :: [])) :: ((SRaw (String ((Ascii
-    (false, false, true, false, true, false, true, false)), (String ((Ascii
-    (true, false, false, true, true, true, true, false)), (String ((Ascii
-    (false, false, false, false, true, true, true, false)), (String ((Ascii
-    (true, false, true, false, false, true, true, false)), (String ((Ascii
-    (true, true, false, false, false, false, true, false)), (String ((Ascii
-    (true, true, true, true, false, true, true, false)), (String ((Ascii
-    (false, false, true, false, false, true, true, false)), (String ((Ascii
-    (true, false, true, false, false, true, true, false)),
-    EmptyString))))))))))))))))) :: ((SAlpha ((String ((Ascii (false, false,
-    false, false, true, false, true, false)), (String ((Ascii (true, false,
-    false, false, false, true, true, false)), (String ((Ascii (true, false,
-    false, true, true, true, true, false)), (String ((Ascii (true, false,
-    true, true, false, true, true, false)), (String ((Ascii (true, false,
-    true, false, false, true, true, false)), (String ((Ascii (false, true,
-    true, true, false, true, true, false)), (String ((Ascii (false, false,
-    true, false, true, true, true, false)), (String ((Ascii (false, true,
-    false, false, true, false, true, false)), (String ((Ascii (true, false,
-    true, false, false, true, true, false)), (String ((Ascii (false, false,
-    true, true, false, true, true, false)), (String ((Ascii (true, false,
-    false, false, false, true, true, false)), (String ((Ascii (false, false,
-    true, false, true, true, true, false)), (String ((Ascii (true, false,
-    true, false, false, true, true, false)), (String ((Ascii (false, false,
-    true, false, false, true, true, false)), (String ((Ascii (true, false,
-    false, true, false, false, true, false)), (String ((Ascii (false, true,
-    true, true, false, true, true, false)), (String ((Ascii (false, true,
-    true, false, false, true, true, false)), (String ((Ascii (true, true,
-    true, true, false, true, true, false)), (String ((Ascii (false, true,
-    false, false, true, true, true, false)), (String ((Ascii (true, false,
-    true, true, false, true, true, false)), (String ((Ascii (true, false,
-    false, false, false, true, true, false)), (String ((Ascii (false, false,
-    true, false, true, true, true, false)), (String ((Ascii (true, false,
-    false, true, false, true, true, false)), (String ((Ascii (true, true,
-    true, true, false, true, true, false)), (String ((Ascii (false, true,
-    true, true, false, true, true, false)),
-    EmptyString)))))))))))))))))))))))))))))))))))))))))))))))))), (S (S (S
-    (S (S (S (S (S (S (S (S (S (S (S (S (S (S (S (S (S (S (S (S (S (S (S (S
-    (S (S (S (S (S (S (S (S (S (S (S (S (S (S (S (S (S (S (S (S (S (S (S (S
-    (S (S (S (S (S (S (S (S (S (S (S (S (S (S (S (S (S (S (S (S (S (S (S (S
-    (S (S (S (S (S
-    O)))))))))))))))))))))))))))))))))))))))))))))))))))))))))))))))))))))))))))))))))) :: ((SNum
-    ((String ((Ascii (true, true, false, false, true, false, true, false)),
-    (String ((Ascii (true, false, true, false, false, true, true, false)),
-    (String ((Ascii (true, false, false, false, true, true, true, false)),
-    (String ((Ascii (true, false, true, false, true, true, true, false)),
-    (String ((Ascii (true, false, true, false, false, true, true, false)),
-    (String ((Ascii (false, true, true, true, false, true, true, false)),
-    (String ((Ascii (true, true, false, false, false, true, true, false)),
-    (String ((Ascii (true, false, true, false, false, true, true, false)),
-    (String ((Ascii (false, true, true, true, false, false, true, false)),
-    (String ((Ascii (true, false, true, false, true, true, true, false)),
-    (String ((Ascii (true, false, true, true, false, true, true, false)),
-    (String ((Ascii (false, true, false, false, false, true, true, false)),
-    (String ((Ascii (true, false, true, false, false, true, true, false)),
-    (String ((Ascii (false, true, false, false, true, true, true, false)),
-    EmptyString)))))))))))))))))))))))))))), (S (S (S (S O)))))) :: ((SNum
-    ((String ((Ascii (true, false, true, false, false, false, true, false)),
-    (String ((Ascii (false, true, true, true, false, true, true, false)),
-    (String ((Ascii (false, false, true, false, true, true, true, false)),
-    (String ((Ascii (false, true, false, false, true, true, true, false)),
-    (String ((Ascii (true, false, false, true, true, true, true, false)),
-    (String ((Ascii (false, false, true, false, false, false, true, false)),
-    (String ((Ascii (true, false, true, false, false, true, true, false)),
-    (String ((Ascii (false, false, true, false, true, true, true, false)),
-    (String ((Ascii (true, false, false, false, false, true, true, false)),
-    (String ((Ascii (true, false, false, true, false, true, true, false)),
-    (String ((Ascii (false, false, true, true, false, true, true, false)),
-    (String ((Ascii (true, true, false, false, true, false, true, false)),
-    (String ((Ascii (true, false, true, false, false, true, true, false)),
-    (String ((Ascii (true, false, false, false, true, true, true, false)),
-    (String ((Ascii (true, false, true, false, true, true, true, false)),
-    (String ((Ascii (true, false, true, false, false, true, true, false)),
-    (String ((Ascii (false, true, true, true, false, true, true, false)),
-    (String ((Ascii (true, true, false, false, false, true, true, false)),
-    (String ((Ascii (true, false, true, false, false, true, true, false)),
-    (String ((Ascii (false, true, true, true, false, false, true, false)),
-    (String ((Ascii (true, false, true, false, true, true, true, false)),
-    (String ((Ascii (true, false, true, true, false, true, true, false)),
-    (String ((Ascii (false, true, false, false, false, true, true, false)),
-    (String ((Ascii (true, false, true, false, false, true, true, false)),
-    (String ((Ascii (false, true, false, false, true, true, true, false)),
-    EmptyString)))))))))))))))))))))))))))))))))))))))))))))))))), (S (S (S
-    (S (S (S (S O))))))))) :: []))))); l_cuts =
-    ((mkcut O (S O) EmptyString []) :: ((mkcut (S O) (S (S (S O))) (String
-                                          ((Ascii (false, false, true, false,
-                                          true, false, true, false)), (String
-                                          ((Ascii (true, false, false, true,
-                                          true, true, true, false)), (String
-                                          ((Ascii (false, false, false,
-                                          false, true, true, true, false)),
-                                          (String ((Ascii (true, false, true,
-                                          false, false, true, true, false)),
-                                          (String ((Ascii (true, true, false,
-                                          false, false, false, true, false)),
-                                          (String ((Ascii (true, true, true,
-                                          true, false, true, true, false)),
-                                          (String ((Ascii (false, false,
-                                          true, false, false, true, true,
-                                          false)), (String ((Ascii (true,
-                                          false, true, false, false, true,
-                                          true, false)),
-                                          EmptyString)))))))))))))))) []) :: (
-    (mkcut (S (S (S O))) (S (S (S (S (S (S (S (S (S (S (S (S (S (S (S (S (S
-      (S (S (S (S (S (S (S (S (S (S (S (S (S (S (S (S (S (S (S (S (S (S (S (S
-      (S (S (S (S (S (S (S (S (S (S (S (S (S (S (S (S (S (S (S (S (S (S (S (S
-      (S (S (S (S (S (S (S (S (S (S (S (S (S (S (S (S (S (S
-      O)))))))))))))))))))))))))))))))))))))))))))))))))))))))))))))))))))))))))))))))))))
-      (String ((Ascii (false, false, false, false, true, false, true,
-      false)), (String ((Ascii (true, false, false, false, false, true, true,
-      false)), (String ((Ascii (true, false, false, true, true, true, true,
-      false)), (String ((Ascii (true, false, true, true, false, true, true,
-      false)), (String ((Ascii (true, false, true, false, false, true, true,
-      false)), (String ((Ascii (false, true, true, true, false, true, true,
-      false)), (String ((Ascii (false, false, true, false, true, true, true,
-      false)), (String ((Ascii (false, true, false, false, true, false, true,
-      false)), (String ((Ascii (true, false, true, false, false, true, true,
-      false)), (String ((Ascii (false, false, true, true, false, true, true,
-      false)), (String ((Ascii (true, false, false, false, false, true, true,
-      false)), (String ((Ascii (false, false, true, false, true, true, true,
-      false)), (String ((Ascii (true, false, true, false, false, true, true,
-      false)), (String ((Ascii (false, false, true, false, false, true, true,
-      false)), (String ((Ascii (true, false, false, true, false, false, true,
-      false)), (String ((Ascii (false, true, true, true, false, true, true,
-      false)), (String ((Ascii (false, true, true, false, false, true, true,
-      false)), (String ((Ascii (true, true, true, true, false, true, true,
-      false)), (String ((Ascii (false, true, false, false, true, true, true,
-      false)), (String ((Ascii (true, false, true, true, false, true, true,
-      false)), (String ((Ascii (true, false, false, false, false, true, true,
-      false)), (String ((Ascii (false, false, true, false, true, true, true,
-      false)), (String ((Ascii (true, false, false, true, false, true, true,
-      false)), (String ((Ascii (true, true, true, true, false, true, true,
-      false)), (String ((Ascii (false, true, true, true, false, true, true,
-      false)), EmptyString))))))))))))))))))))))))))))))))))))))))))))))))))
-      ((String ((Ascii (true, true, false, false, true, true, true, false)),
-      (String ((Ascii (false, false, true, false, true, true, true, false)),
-      (String ((Ascii (false, true, false, false, true, true, true, false)),
-      (String ((Ascii (true, false, false, true, false, true, true, false)),
-      (String ((Ascii (false, true, true, true, false, true, true, false)),
-      (String ((Ascii (true, true, true, false, false, true, true, false)),
-      (String ((Ascii (true, true, false, false, true, true, true, false)),
-      (String ((Ascii (false, true, true, true, false, true, false, false)),
-      (String ((Ascii (false, false, true, false, true, false, true, false)),
-      (String ((Ascii (false, true, false, false, true, true, true, false)),
-      (String ((Ascii (true, false, false, true, false, true, true, false)),
-      (String ((Ascii (true, false, true, true, false, true, true, false)),
-      (String ((Ascii (true, true, false, false, true, false, true, false)),
-      (String ((Ascii (false, false, false, false, true, true, true, false)),
-      (String ((Ascii (true, false, false, false, false, true, true, false)),
-      (String ((Ascii (true, true, false, false, false, true, true, false)),
-      (String ((Ascii (true, false, true, false, false, true, true, false)),
-      EmptyString)))))))))))))))))))))))))))))))))) :: [])) :: ((mkcut (S (S
-                                                                  (S (S (S (S
-                                                                  (S (S (S (S
-                                                                  (S (S (S (S
-                                                                  (S (S (S (S
-                                                                  (S (S (S (S
-                                                                  (S (S (S (S
-                                                                  (S (S (S (S
-                                                                  (S (S (S (S
-                                                                  (S (S (S (S
-                                                                  (S (S (S (S
-                                                                  (S (S (S (S
-                                                                  (S (S (S (S
-                                                                  (S (S (S (S
-                                                                  (S (S (S (S
-                                                                  (S (S (S (S
-                                                                  (S (S (S (S
-                                                                  (S (S (S (S
-                                                                  (S (S (S (S
-                                                                  (S (S (S (S
-                                                                  (S (S (S (S
-                                                                  (S
-                                                                  O)))))))))))))))))))))))))))))))))))))))))))))))))))))))))))))))))))))))))))))))))))
-                                                                  (S (S (S (S
-                                                                  (S (S (S (S
-                                                                  (S (S (S (S
-                                                                  (S (S (S (S
-                                                                  (S (S (S (S
-                                                                  (S (S (S (S
-                                                                  (S (S (S (S
-                                                                  (S (S (S (S
-                                                                  (S (S (S (S
-                                                                  (S (S (S (S
-                                                                  (S (S (S (S
-                                                                  (S (S (S (S
-                                                                  (S (S (S (S
-                                                                  (S (S (S (S
-                                                                  (S (S (S (S
-                                                                  (S (S (S (S
-                                                                  (S (S (S (S
-                                                                  (S (S (S (S
-                                                                  (S (S (S (S
-                                                                  (S (S (S (S
-                                                                  (S (S (S (S
-                                                                  (S (S (S
-                                                                  O)))))))))))))))))))))))))))))))))))))))))))))))))))))))))))))))))))))))))))))))))))))))
-                                                                  (String
-                                                                  ((Ascii
-                                                                  (true,
-                                                                  true,
-                                                                  false,
-                                                                  false,
-                                                                  true,
-                                                                  false,
-                                                                  true,
-                                                                  false)),
-                                                                  (String
-                                                                  ((Ascii
-                                                                  (true,
-                                                                  false,
-                                                                  true,
-                                                                  false,
-                                                                  false,
-                                                                  true, true,
-                                                                  false)),
-                                                                  (String
-                                                                  ((Ascii
-                                                                  (true,
-                                                                  false,
-                                                                  false,
-                                                                  false,
-                                                                  true, true,
-                                                                  true,
-                                                                  false)),
-                                                                  (String
-                                                                  ((Ascii
-                                                                  (true,
-                                                                  false,
-                                                                  true,
-                                                                  false,
-                                                                  true, true,
-                                                                  true,
-                                                                  false)),
-                                                                  (String
-                                                                  ((Ascii
-                                                                  (true,
-                                                                  false,
-                                                                  true,
-                                                                  false,
-                                                                  false,
-                                                                  true, true,
-                                                                  false)),
-                                                                  (String
-                                                                  ((Ascii
-                                                                  (false,
-                                                                  true, true,
-                                                                  true,
-                                                                  false,
-                                                                  true, true,
-                                                                  false)),
-                                                                  (String
-                                                                  ((Ascii
-                                                                  (true,
-                                                                  true,
-                                                                  false,
-                                                                  false,
-                                                                  false,
-                                                                  true, true,
-                                                                  false)),
-                                                                  (String
-                                                                  ((Ascii
-                                                                  (true,
-                                                                  false,
-                                                                  true,
-                                                                  false,
-                                                                  false,
-                                                                  true, true,
-                                                                  false)),
-                                                                  (String
-                                                                  ((Ascii
-                                                                  (false,
-                                                                  true, true,
-                                                                  true,
-                                                                  false,
-                                                                  false,
-                                                                  true,
-                                                                  false)),
-                                                                  (String
-                                                                  ((Ascii
-                                                                  (true,
-                                                                  false,
-                                                                  true,
-                                                                  false,
-                                                                  true, true,
-                                                                  true,
-                                                                  false)),
-                                                                  (String
-                                                                  ((Ascii
-                                                                  (true,
-                                                                  false,
-                                                                  true, true,
-                                                                  false,
-                                                                  true, true,
-                                                                  false)),
-                                                                  (String
-                                                                  ((Ascii
-                                                                  (false,
-                                                                  true,
-                                                                  false,
-                                                                  false,
-                                                                  false,
-                                                                  true, true,
-                                                                  false)),
-                                                                  (String
-                                                                  ((Ascii
-                                                                  (true,
-                                                                  false,
-                                                                  true,
-                                                                  false,
-                                                                  false,
-                                                                  true, true,
-                                                                  false)),
-                                                                  (String
-                                                                  ((Ascii
-                                                                  (false,
-                                                                  true,
-                                                                  false,
-                                                                  false,
-                                                                  true, true,
-                                                                  true,
-                                                                  false)),
-                                                                  EmptyString))))))))))))))))))))))))))))
-                                                                  ((String
-                                                                  ((Ascii
-                                                                  (false,
-                                                                  false,
-                                                                  false,
-                                                                  false,
-                                                                  true, true,
-                                                                  true,
-                                                                  false)),
-                                                                  (String
-                                                                  ((Ascii
-                                                                  (true,
-                                                                  false,
-                                                                  false,
-                                                                  false,
-                                                                  false,
-                                                                  true, true,
-                                                                  false)),
-                                                                  (String
-                                                                  ((Ascii
-                                                                  (false,
-                                                                  true,
-                                                                  false,
-                                                                  false,
-                                                                  true, true,
-                                                                  true,
-                                                                  false)),
-                                                                  (String
-                                                                  ((Ascii
-                                                                  (true,
-                                                                  true,
-                                                                  false,
-                                                                  false,
-                                                                  true, true,
-                                                                  true,
-                                                                  false)),
-                                                                  (String
-                                                                  ((Ascii
-                                                                  (true,
-                                                                  false,
-                                                                  true,
-                                                                  false,
-                                                                  false,
-                                                                  true, true,
-                                                                  false)),
-                                                                  (String
-                                                                  ((Ascii
-                                                                  (false,
-                                                                  true, true,
-                                                                  true,
-                                                                  false,
-                                                                  false,
-                                                                  true,
-                                                                  false)),
-                                                                  (String
-                                                                  ((Ascii
-                                                                  (true,
-                                                                  false,
-                                                                  true,
-                                                                  false,
-                                                                  true, true,
-                                                                  true,
-                                                                  false)),
-                                                                  (String
-                                                                  ((Ascii
-                                                                  (true,
-                                                                  false,
-                                                                  true, true,
-                                                                  false,
-                                                                  true, true,
-                                                                  false)),
-                                                                  (String
-                                                                  ((Ascii
-                                                                  (false,
-                                                                  true, true,
-                                                                  false,
-                                                                  false,
-                                                                  false,
-                                                                  true,
-                                                                  false)),
-                                                                  (String
-                                                                  ((Ascii
-                                                                  (true,
-                                                                  false,
-                                                                  false,
-                                                                  true,
-                                                                  false,
-                                                                  true, true,
-                                                                  false)),
-                                                                  (String
-                                                                  ((Ascii
-                                                                  (true,
-                                                                  false,
-                                                                  true,
-                                                                  false,
-                                                                  false,
-                                                                  true, true,
-                                                                  false)),
-                                                                  (String
-                                                                  ((Ascii
-                                                                  (false,
-                                                                  false,
-                                                                  true, true,
-                                                                  false,
-                                                                  true, true,
-                                                                  false)),
-                                                                  (String
-                                                                  ((Ascii
-                                                                  (false,
-                                                                  false,
-                                                                  true,
-                                                                  false,
-                                                                  false,
-                                                                  true, true,
-                                                                  false)),
-                                                                  EmptyString)))))))))))))))))))))))))) :: [])) :: (
-    (mkcut (S (S (S (S (S (S (S (S (S (S (S (S (S (S (S (S (S (S (S (S (S (S
-      (S (S (S (S (S (S (S (S (S (S (S (S (S (S (S (S (S (S (S (S (S (S (S (S
-      (S (S (S (S (S (S (S (S (S (S (S (S (S (S (S (S (S (S (S (S (S (S (S (S
-      (S (S (S (S (S (S (S (S (S (S (S (S (S (S (S (S (S
-      O)))))))))))))))))))))))))))))))))))))))))))))))))))))))))))))))))))))))))))))))))))))))
-      (S (S (S (S (S (S (S (S (S (S (S (S (S (S (S (S (S (S (S (S (S (S (S (S
-      (S (S (S (S (S (S (S (S (S (S (S (S (S (S (S (S (S (S (S (S (S (S (S (S
-      (S (S (S (S (S (S (S (S (S (S (S (S (S (S (S (S (S (S (S (S (S (S (S (S
-      (S (S (S (S (S (S (S (S (S (S (S (S (S (S (S (S (S (S (S (S (S (S
-      O))))))))))))))))))))))))))))))))))))))))))))))))))))))))))))))))))))))))))))))))))))))))))))))
-      (String ((Ascii (true, false, true, false, false, false, true, false)),
-      (String ((Ascii (false, true, true, true, false, true, true, false)),
-      (String ((Ascii (false, false, true, false, true, true, true, false)),
-      (String ((Ascii (false, true, false, false, true, true, true, false)),
-      (String ((Ascii (true, false, false, true, true, true, true, false)),
-      (String ((Ascii (false, false, true, false, false, false, true,
-      false)), (String ((Ascii (true, false, true, false, false, true, true,
-      false)), (String ((Ascii (false, false, true, false, true, true, true,
-      false)), (String ((Ascii (true, false, false, false, false, true, true,
-      false)), (String ((Ascii (true, false, false, true, false, true, true,
-      false)), (String ((Ascii (false, false, true, true, false, true, true,
-      false)), (String ((Ascii (true, true, false, false, true, false, true,
-      false)), (String ((Ascii (true, false, true, false, false, true, true,
-      false)), (String ((Ascii (true, false, false, false, true, true, true,
-      false)), (String ((Ascii (true, false, true, false, true, true, true,
-      false)), (String ((Ascii (true, false, true, false, false, true, true,
-      false)), (String ((Ascii (false, true, true, true, false, true, true,
-      false)), (String ((Ascii (true, true, false, false, false, true, true,
-      false)), (String ((Ascii (true, false, true, false, false, true, true,
-      false)), (String ((Ascii (false, true, true, true, false, false, true,
-      false)), (String ((Ascii (true, false, true, false, true, true, true,
-      false)), (String ((Ascii (true, false, true, true, false, true, true,
       false)), (String ((Ascii (false, true, false, false, false, true, true,
-      false)), (String ((Ascii (true, false, true, false, false, true, true,
-      false)), (String ((Ascii (false, true, false, false, true, true, true,
-      false)), EmptyString))))))))))))))))))))))))))))))))))))))))))))))))))
-      ((String ((Ascii (false, false, false, false, true, true, true,
-      false)), (String ((Ascii (true, false, false, false, false, true, true,
-      false)), (String ((Ascii (false, true, false, false, true, true, true,
-      false)), (String ((Ascii (true, true, false, false, true, true, true,
-      false)), (String ((Ascii (true, false, true, false, false, true, true,
-      false)), (String ((Ascii (false, true, true, true, false, false, true,
-      false)), (String ((Ascii (true, false, true, false, true, true, true,
-      false)), (String ((Ascii (true, false, true, true, false, true, true,
-      false)), (String ((Ascii (false, true, true, false, false, false, true,
-      false)), (String ((Ascii (true, false, false, true, false, true, true,
-      false)), (String ((Ascii (true, false, true, false, false, true, true,
       false)), (String ((Ascii (false, false, true, true, false, true, true,
-      false)), (String ((Ascii (false, false, true, false, false, true, true,
-      false)), EmptyString)))))))))))))))))))))))))) :: [])) :: []))))) }
+      false)), (String ((Ascii (true, false, true, false, false, true, true,
+      false)), (String ((Ascii (false, true, true, false, false, false, true,
+      false)), (String ((Ascii (true, false, false, true, false, true, true,
+      false)), (String ((Ascii (false, false, true, true, false, true, true,
+      false)), (String ((Ascii (true, false, true, false, false, true, true,
+      false)), (String ((Ascii (true, true, false, false, true, true, true,
+      false)), EmptyString)))))))))))))))))))))))))) l)
 
-(** val l_Addenda10 : layout **)
+(** val loop_complete : string list -> bool **)
 
-let l_Addenda10 =
-  { l_name = (String ((Ascii (true, false, false, false, false, false, true,
-    false)), (String ((Ascii (false, false, true, false, false, true, true,
-    false)), (String ((Ascii (false, false, true, false, false, true, true,
-    false)), (String ((Ascii (true, false, true, false, false, true, true,
-    false)), (String ((Ascii (false, true, true, true, false, true, true,
-    false)), (String ((Ascii (false, false, true, false, false, true, true,
+let loop_complete = function
+| [] -> true
+| _ :: _ -> false
+
+(** val acceptor_table : (bytes * acceptance) list **)
+
+let acceptor_table =
+  ([], Accept) :: ((((Npos (XO (XI (XI (XI (XO XH)))))) :: ((Npos (XI (XO (XO
+    (XO (XO (XI XH))))))) :: ((Npos (XI (XI (XO (XO (XO (XI
+    XH))))))) :: ((Npos (XO (XO (XO (XI (XO (XI XH))))))) :: [])))),
+    Accept) :: ((((Npos (XO (XI (XI (XI (XO XH)))))) :: ((Npos (XO (XO (XI
+    (XO (XI (XI XH))))))) :: ((Npos (XO (XO (XO (XI (XI (XI
+    XH))))))) :: ((Npos (XO (XO (XI (XO (XI (XI XH))))))) :: [])))),
+    Accept) :: ((((Npos (XO (XI (XI (XI (XO XH)))))) :: ((Npos (XO (XI (XO
+    (XI (XO (XI XH))))))) :: ((Npos (XI (XI (XO (XO (XI (XI
+    XH))))))) :: ((Npos (XI (XI (XI (XI (XO (XI XH))))))) :: ((Npos (XO (XI
+    (XI (XI (XO (XI XH))))))) :: []))))), AsJson) :: [])))
+
+(** val acceptor_default : acceptance **)
+
+let acceptor_default =
+  Skip
+
+(** val mergedir_sends : send_site list **)
+
+let mergedir_sends =
+  { s_func = (String ((Ascii (true, true, true, false, true, true, true,
     false)), (String ((Ascii (true, false, false, false, false, true, true,
-    false)), (String ((Ascii (true, false, false, false, true, true, false,
-    false)), (String ((Ascii (false, false, false, false, true, true, false,
-    false)), EmptyString)))))))))))))))))); l_ix = IRune; l_segs = ((SLit
-    ((Npos (XI (XI (XI (XO (XI XH)))))) :: [])) :: ((SRaw (String ((Ascii
-    (false, false, true, false, true, false, true, false)), (String ((Ascii
-    (true, false, false, true, true, true, true, false)), (String ((Ascii
-    (false, false, false, false, true, true, true, false)), (String ((Ascii
-    (true, false, true, false, false, true, true, false)), (String ((Ascii
-    (true, true, false, false, false, false, true, false)), (String ((Ascii
-    (true, true, true, true, false, true, true, false)), (String ((Ascii
-    (false, false, true, false, false, true, true, false)), (String ((Ascii
-    (true, false, true, false, false, true, true, false)),
-    EmptyString))))))))))))))))) :: ((SRaw (String ((Ascii (false, false,
-    true, false, true, false, true, false)), (String ((Ascii (false, true,
-    false, false, true, true, true, false)), (String ((Ascii (true, false,
-    false, false, false, true, true, false)), (String ((Ascii (false, true,
-    true, true, false, true, true, false)), (String ((Ascii (true, true,
-    false, false, true, true, true, false)), (String ((Ascii (true, false,
-    false, false, false, true, true, false)), (String ((Ascii (true, true,
-    false, false, false, true, true, false)), (String ((Ascii (false, false,
-    true, false, true, true, true, false)), (String ((Ascii (true, false,
-    false, true, false, true, true, false)), (String ((Ascii (true, true,
-    true, true, false, true, true, false)), (String ((Ascii (false, true,
-    true, true, false, true, true, false)), (String ((Ascii (false, false,
-    true, false, true, false, true, false)), (String ((Ascii (true, false,
-    false, true, true, true, true, false)), (String ((Ascii (false, false,
-    false, false, true, true, true, false)), (String ((Ascii (true, false,
-    true, false, false, true, true, false)), (String ((Ascii (true, true,
-    false, false, false, false, true, false)), (String ((Ascii (true, true,
-    true, true, false, true, true, false)), (String ((Ascii (false, false,
-    true, false, false, true, true, false)), (String ((Ascii (true, false,
-    true, false, false, true, true, false)),
-    EmptyString))))))))))))))))))))))))))))))))))))))) :: ((SNum ((String
-    ((Ascii (false, true, true, false, false, false, true, false)), (String
-    ((Ascii (true, true, true, true, false, true, true, false)), (String
-    ((Ascii (false, true, false, false, true, true, true, false)), (String
-    ((Ascii (true, false, true, false, false, true, true, false)), (String
-    ((Ascii (true, false, false, true, false, true, true, false)), (String
-    ((Ascii (true, true, true, false, false, true, true, false)), (String
-    ((Ascii (false, true, true, true, false, true, true, false)), (String
-    ((Ascii (false, false, false, false, true, false, true, false)), (String
-    ((Ascii (true, false, false, false, false, true, true, false)), (String
-    ((Ascii (true, false, false, true, true, true, true, false)), (String
-    ((Ascii (true, false, true, true, false, true, true, false)), (String
-    ((Ascii (true, false, true, false, false, true, true, false)), (String
-    ((Ascii (false, true, true, true, false, true, true, false)), (String
-    ((Ascii (false, false, true, false, true, true, true, false)), (String
-    ((Ascii (true, false, false, false, false, false, true, false)), (String
-    ((Ascii (true, false, true, true, false, true, true, false)), (String
-    ((Ascii (true, true, true, true, false, true, true, false)), (String
-    ((Ascii (true, false, true, false, true, true, true, false)), (String
-    ((Ascii (false, true, true, true, false, true, true, false)), (String
-    ((Ascii (false, false, true, false, true, true, true, false)),
-    EmptyString)))))))))))))))))))))))))))))))))))))))), (S (S (S (S (S (S (S
-    (S (S (S (S (S (S (S (S (S (S (S O)))))))))))))))))))) :: ((SAlpha
-    ((String ((Ascii (false, true, true, false, false, false, true, false)),
-    (String ((Ascii (true, true, true, true, false, true, true, false)),
-    (String ((Ascii (false, true, false, false, true, true, true, false)),
-    (String ((Ascii (true, false, true, false, false, true, true, false)),
-    (String ((Ascii (true, false, false, true, false, true, true, false)),
-    (String ((Ascii (true, true, true, false, false, true, true, false)),
-    (String ((Ascii (false, true, true, true, false, true, true, false)),
-    (String ((Ascii (false, false, true, false, true, false, true, false)),
-    (String ((Ascii (false, true, false, false, true, true, true, false)),
-    (String ((Ascii (true, false, false, false, false, true, true, false)),
-    (String ((Ascii (true, true, false, false, false, true, true, false)),
-    (String ((Ascii (true, false, true, false, false, true, true, false)),
-    (String ((Ascii (false, true, true, true, false, false, true, false)),
-    (String ((Ascii (true, false, true, false, true, true, true, false)),
-    (String ((Ascii (true, false, true, true, false, true, true, false)),
-    (String ((Ascii (false, true, false, false, false, true, true, false)),
-    (String ((Ascii (true, false, true, false, false, true, true, false)),
-    (String ((Ascii (false, true, false, false, true, true, true, false)),
-    EmptyString)))))))))))))))))))))))))))))))))))), (S (S (S (S (S (S (S (S
-    (S (S (S (S (S (S (S (S (S (S (S (S (S (S
-    O)))))))))))))))))))))))) :: ((SAlpha ((String ((Ascii (false, true,
-    true, true, false, false, true, false)), (String ((Ascii (true, false,
-    false, false, false, true, true, false)), (String ((Ascii (true, false,
-    true, true, false, true, true, false)), (String ((Ascii (true, false,
-    true, false, false, true, true, false)), EmptyString)))))))), (S (S (S (S
-    (S (S (S (S (S (S (S (S (S (S (S (S (S (S (S (S (S (S (S (S (S (S (S (S
-    (S (S (S (S (S (S (S O))))))))))))))))))))))))))))))))))))) :: ((SLit
-    ((Npos (XO (XO (XO (XO (XO XH)))))) :: ((Npos (XO (XO (XO (XO (XO
-    XH)))))) :: ((Npos (XO (XO (XO (XO (XO XH)))))) :: ((Npos (XO (XO (XO (XO
-    (XO XH)))))) :: ((Npos (XO (XO (XO (XO (XO XH)))))) :: ((Npos (XO (XO (XO
-    (XO (XO XH)))))) :: []))))))) :: ((SNum ((String ((Ascii (true, false,
-    true, false, false, false, true, false)), (String ((Ascii (false, true,
-    true, true, false, true, true, false)), (String ((Ascii (false, false,
-    true, false, true, true, true, false)), (String ((Ascii (false, true,
-    false, false, true, true, true, false)), (String ((Ascii (true, false,
-    false, true, true, true, true, false)), (String ((Ascii (false, false,
-    true, false, false, false, true, false)), (String ((Ascii (true, false,
-    true, false, false, true, true, false)), (String ((Ascii (false, false,
-    true, false, true, true, true, false)), (String ((Ascii (true, false,
-    false, false, false, true, true, false)), (String ((Ascii (true, false,
-    false, true, false, true, true, false)), (String ((Ascii (false, false,
-    true, true, false, true, true, false)), (String ((Ascii (true, true,
-    false, false, true, false, true, false)), (String ((Ascii (true, false,
-    true, false, false, true, true, false)), (String ((Ascii (true, false,
-    false, false, true, true, true, false)), (String ((Ascii (true, false,
-    true, false, true, true, true, false)), (String ((Ascii (true, false,
-    true, false, false, true, true, false)), (String ((Ascii (false, true,
-    true, true, false, true, true, false)), (String ((Ascii (true, true,
-    false, false, false, true, true, false)), (String ((Ascii (true, false,
-    true, false, false, true, true, false)), (String ((Ascii (false, true,
-    true, true, false, false, true, false)), (String ((Ascii (true, false,
-    true, false, true, true, true, false)), (String ((Ascii (true, false,
-    true, true, false, true, true, false)), (String ((Ascii (false, true,
-    false, false, false, true, true, false)), (String ((Ascii (true, false,
-    true, false, false, true, true, false)), (String ((Ascii (false, true,
-    false, false, true, true, true, false)),
-    EmptyString)))))))))))))))))))))))))))))))))))))))))))))))))), (S (S (S
-    (S (S (S (S O))))))))) :: [])))))))); l_cuts =
-    ((mkcut O (S O) EmptyString []) :: ((mkcut (S O) (S (S (S O))) (String
-                                          ((Ascii (false, false, true, false,
-                                          true, false, true, false)), (String
-                                          ((Ascii (true, false, false, true,
-                                          true, true, true, false)), (String
-                                          ((Ascii (false, false, false,
-                                          false, true, true, true, false)),
-                                          (String ((Ascii (true, false, true,
-                                          false, false, true, true, false)),
-                                          (String ((Ascii (true, true, false,
-                                          false, false, false, true, false)),
-                                          (String ((Ascii (true, true, true,
-                                          true, false, true, true, false)),
-                                          (String ((Ascii (false, false,
-                                          true, false, false, true, true,
-                                          false)), (String ((Ascii (true,
-                                          false, true, false, false, true,
-                                          true, false)),
-                                          EmptyString)))))))))))))))) []) :: (
-    (mkcut (S (S (S O))) (S (S (S (S (S (S O)))))) (String ((Ascii (false,
-      false, true, false, true, false, true, false)), (String ((Ascii (false,
-      true, false, false, true, true, true, false)), (String ((Ascii (true,
-      false, false, false, false, true, true, false)), (String ((Ascii
-      (false, true, true, true, false, true, true, false)), (String ((Ascii
-      (true, true, false, false, true, true, true, false)), (String ((Ascii
-      (true, false, false, false, false, true, true, false)), (String ((Ascii
-      (true, true, false, false, false, true, true, false)), (String ((Ascii
-      (false, false, true, false, true, true, true, false)), (String ((Ascii
-      (true, false, false, true, false, true, true, false)), (String ((Ascii
-      (true, true, true, true, false, true, true, false)), (String ((Ascii
-      (false, true, true, true, false, true, true, false)), (String ((Ascii
-      (false, false, true, false, true, false, true, false)), (String ((Ascii
-      (true, false, false, true, true, true, true, false)), (String ((Ascii
-      (false, false, false, false, true, true, true, false)), (String ((Ascii
-      (true, false, true, false, false, true, true, false)), (String ((Ascii
-      (true, true, false, false, false, false, true, false)), (String ((Ascii
-      (true, true, true, true, false, true, true, false)), (String ((Ascii
-      (false, false, true, false, false, true, true, false)), (String ((Ascii
-      (true, false, true, false, false, true, true, false)),
-      EmptyString)))))))))))))))))))))))))))))))))))))) []) :: ((mkcut (S (S
-                                                                  (S (S (S (S
-                                                                  O)))))) (S
-                                                                  (S (S (S (S
-                                                                  (S (S (S (S
-                                                                  (S (S (S (S
-                                                                  (S (S (S (S
-                                                                  (S (S (S (S
-                                                                  (S (S (S
-                                                                  O))))))))))))))))))))))))
-                                                                  (String
-                                                                  ((Ascii
-                                                                  (false,
-                                                                  true, true,
-                                                                  false,
-                                                                  false,
-                                                                  false,
-                                                                  true,
-                                                                  false)),
-                                                                  (String
-                                                                  ((Ascii
-                                                                  (true,
-                                                                  true, true,
-                                                                  true,
-                                                                  false,
-                                                                  true, true,
-                                                                  false)),
-                                                                  (String
-                                                                  ((Ascii
-                                                                  (false,
-                                                                  true,
-                                                                  false,
-                                                                  false,
-                                                                  true, true,
-                                                                  true,
-                                                                  false)),
-                                                                  (String
-                                                                  ((Ascii
-                                                                  (true,
-                                                                  false,
-                                                                  true,
-                                                                  false,
-                                                                  false,
-                                                                  true, true,
-                                                                  false)),
-                                                                  (String
-                                                                  ((Ascii
-                                                                  (true,
-                                                                  false,
-                                                                  false,
-                                                                  true,
-                                                                  false,
-                                                                  true, true,
-                                                                  false)),
-                                                                  (String
-                                                                  ((Ascii
-                                                                  (true,
-                                                                  true, true,
-                                                                  false,
-                                                                  false,
-                                                                  true, true,
-                                                                  false)),
-                                                                  (String
-                                                                  ((Ascii
-                                                                  (false,
-                                                                  true, true,
-                                                                  true,
-                                                                  false,
-                                                                  true, true,
-                                                                  false)),
-                                                                  (String
-                                                                  ((Ascii
-                                                                  (false,
-                                                                  false,
-                                                                  false,
-                                                                  false,
-                                                                  true,
-                                                                  false,
-                                                                  true,
-                                                                  false)),
-                                                                  (String
-                                                                  ((Ascii
-                                                                  (true,
-                                                                  false,
-                                                                  false,
-                                                                  false,
-                                                                  false,
-                                                                  true, true,
-                                                                  false)),
-                                                                  (String
-                                                                  ((Ascii
-                                                                  (true,
-                                                                  false,
-                                                                  false,
-                                                                  true, true,
-                                                                  true, true,
-                                                                  false)),
-                                                                  (String
-                                                                  ((Ascii
-                                                                  (true,
-                                                                  false,
-                                                                  true, true,
-                                                                  false,
-                                                                  true, true,
-                                                                  false)),
-                                                                  (String
-                                                                  ((Ascii
-                                                                  (true,
-                                                                  false,
-                                                                  true,
-                                                                  false,
-                                                                  false,
-                                                                  true, true,
-                                                                  false)),
-                                                                  (String
-                                                                  ((Ascii
-                                                                  (false,
-                                                                  true, true,
-                                                                  true,
-                                                                  false,
-                                                                  true, true,
-                                                                  false)),
-                                                                  (String
-                                                                  ((Ascii
-                                                                  (false,
-                                                                  false,
-                                                                  true,
-                                                                  false,
-                                                                  true, true,
-                                                                  true,
-                                                                  false)),
-                                                                  (String
-                                                                  ((Ascii
-                                                                  (true,
-                                                                  false,
-                                                                  false,
-                                                                  false,
-                                                                  false,
-                                                                  false,
-                                                                  true,
-                                                                  false)),
-                                                                  (String
-                                                                  ((Ascii
-                                                                  (true,
-                                                                  false,
-                                                                  true, true,
-                                                                  false,
-                                                                  true, true,
-                                                                  false)),
-                                                                  (String
-                                                                  ((Ascii
-                                                                  (true,
-                                                                  true, true,
-                                                                  true,
-                                                                  false,
-                                                                  true, true,
-                                                                  false)),
-                                                                  (String
-                                                                  ((Ascii
-                                                                  (true,
-                                                                  false,
-                                                                  true,
-                                                                  false,
-                                                                  true, true,
-                                                                  true,
-                                                                  false)),
-                                                                  (String
-                                                                  ((Ascii
-                                                                  (false,
-                                                                  true, true,
-                                                                  true,
-                                                                  false,
-                                                                  true, true,
-                                                                  false)),
-                                                                  (String
-                                                                  ((Ascii
-                                                                  (false,
-                                                                  false,
-                                                                  true,
-                                                                  false,
-                                                                  true, true,
-                                                                  true,
-                                                                  false)),
-                                                                  EmptyString))))))))))))))))))))))))))))))))))))))))
-                                                                  ((String
-                                                                  ((Ascii
-                                                                  (false,
-                                                                  false,
-                                                                  false,
-                                                                  false,
-                                                                  true, true,
-                                                                  true,
-                                                                  false)),
-                                                                  (String
-                                                                  ((Ascii
-                                                                  (true,
-                                                                  false,
-                                                                  false,
-                                                                  false,
-                                                                  false,
-                                                                  true, true,
-                                                                  false)),
-                                                                  (String
-                                                                  ((Ascii
-                                                                  (false,
-                                                                  true,
-                                                                  false,
-                                                                  false,
-                                                                  true, true,
-                                                                  true,
-                                                                  false)),
-                                                                  (String
-                                                                  ((Ascii
-                                                                  (true,
-                                                                  true,
-                                                                  false,
-                                                                  false,
-                                                                  true, true,
-                                                                  true,
-                                                                  false)),
-                                                                  (String
-                                                                  ((Ascii
-                                                                  (true,
-                                                                  false,
-                                                                  true,
-                                                                  false,
-                                                                  false,
-                                                                  true, true,
-                                                                  false)),
-                                                                  (String
-                                                                  ((Ascii
-                                                                  (false,
-                                                                  true, true,
-                                                                  true,
-                                                                  false,
-                                                                  false,
-                                                                  true,
-                                                                  false)),
-                                                                  (String
-                                                                  ((Ascii
-                                                                  (true,
-                                                                  false,
-                                                                  true,
-                                                                  false,
-                                                                  true, true,
-                                                                  true,
-                                                                  false)),
-                                                                  (String
-                                                                  ((Ascii
-                                                                  (true,
-                                                                  false,
-                                                                  true, true,
-                                                                  false,
-                                                                  true, true,
-                                                                  false)),
-                                                                  (String
-                                                                  ((Ascii
-                                                                  (false,
-                                                                  true, true,
-                                                                  false,
-                                                                  false,
-                                                                  false,
-                                                                  true,
-                                                                  false)),
-                                                                  (String
-                                                                  ((Ascii
-                                                                  (true,
-                                                                  false,
-                                                                  false,
-                                                                  true,
-                                                                  false,
-                                                                  true, true,
-                                                                  false)),
-                                                                  (String
-                                                                  ((Ascii
-                                                                  (true,
-                                                                  false,
-                                                                  true,
-                                                                  false,
-                                                                  false,
-                                                                  true, true,
-                                                                  false)),
-                                                                  (String
-                                                                  ((Ascii
-                                                                  (false,
-                                                                  false,
-                                                                  true, true,
-                                                                  false,
-                                                                  true, true,
-                                                                  false)),
-                                                                  (String
-                                                                  ((Ascii
-                                                                  (false,
-                                                                  false,
-                                                                  true,
-                                                                  false,
-                                                                  false,
-                                                                  true, true,
-                                                                  false)),
-                                                                  EmptyString)))))))))))))))))))))))))) :: [])) :: (
-    (mkcut (S (S (S (S (S (S (S (S (S (S (S (S (S (S (S (S (S (S (S (S (S (S
-      (S (S O)))))))))))))))))))))))) (S (S (S (S (S (S (S (S (S (S (S (S (S
-      (S (S (S (S (S (S (S (S (S (S (S (S (S (S (S (S (S (S (S (S (S (S (S (S
-      (S (S (S (S (S (S (S (S (S
-      O)))))))))))))))))))))))))))))))))))))))))))))) (String ((Ascii (false,
-      true, true, false, false, false, true, false)), (String ((Ascii (true,
-      true, true, true, false, true, true, false)), (String ((Ascii (false,
-      true, false, false, true, true, true, false)), (String ((Ascii (true,
-      false, true, false, false, true, true, false)), (String ((Ascii (true,
-      false, false, true, false, true, true, false)), (String ((Ascii (true,
-      true, true, false, false, true, true, false)), (String ((Ascii (false,
-      true, true, true, false, true, true, false)), (String ((Ascii (false,
-      false, true, false, true, false, true, false)), (String ((Ascii (false,
-      true, false, false, true, true, true, false)), (String ((Ascii (true,
-      false, false, false, false, true, true, false)), (String ((Ascii (true,
-      true, false, false, false, true, true, false)), (String ((Ascii (true,
-      false, true, false, false, true, true, false)), (String ((Ascii (false,
-      true, true, true, false, false, true, false)), (String ((Ascii (true,
-      false, true, false, true, true, true, false)), (String ((Ascii (true,
-      false, true, true, false, true, true, false)), (String ((Ascii (false,
-      true, false, false, false, true, true, false)), (String ((Ascii (true,
-      false, true, false, false, true, true, false)), (String ((Ascii (false,
-      true, false, false, true, true, true, false)),
-      EmptyString)))))))))))))))))))))))))))))))))))) ((String ((Ascii (true,
-      true, false, false, true, true, true, false)), (String ((Ascii (false,
-      false, true, false, true, true, true, false)), (String ((Ascii (false,
-      true, false, false, true, true, true, false)), (String ((Ascii (true,
-      false, false, true, false, true, true, false)), (String ((Ascii (false,
-      true, true, true, false, true, true, false)), (String ((Ascii (true,
-      true, true, false, false, true, true, false)), (String ((Ascii (true,
-      true, false, false, true, true, true, false)), (String ((Ascii (false,
-      true, true, true, false, true, false, false)), (String ((Ascii (false,
-      false, true, false, true, false, true, false)), (String ((Ascii (false,
-      true, false, false, true, true, true, false)), (String ((Ascii (true,
-      false, false, true, false, true, true, false)), (String ((Ascii (true,
-      false, true, true, false, true, true, false)), (String ((Ascii (true,
-      true, false, false, true, false, true, false)), (String ((Ascii (false,
-      false, false, false, true, true, true, false)), (String ((Ascii (true,
-      false, false, false, false, true, true, false)), (String ((Ascii (true,
-      true, false, false, false, true, true, false)), (String ((Ascii (true,
-      false, true, false, false, true, true, false)),
-      EmptyString)))))))))))))))))))))))))))))))))) :: [])) :: ((mkcut (S (S
-                                                                  (S (S (S (S
-                                                                  (S (S (S (S
-                                                                  (S (S (S (S
-                                                                  (S (S (S (S
-                                                                  (S (S (S (S
-                                                                  (S (S (S (S
-                                                                  (S (S (S (S
-                                                                  (S (S (S (S
-                                                                  (S (S (S (S
-                                                                  (S (S (S (S
-                                                                  (S (S (S (S
-                                                                  O))))))))))))))))))))))))))))))))))))))))))))))
-                                                                  (S (S (S (S
-                                                                  (S (S (S (S
-                                                                  (S (S (S (S
-                                                                  (S (S (S (S
-                                                                  (S (S (S (S
-                                                                  (S (S (S (S
-                                                                  (S (S (S (S
-                                                                  (S (S (S (S
-                                                                  (S (S (S (S
-                                                                  (S (S (S (S
-                                                                  (S (S (S (S
-                                                                  (S (S (S (S
-                                                                  (S (S (S (S
-                                                                  (S (S (S (S
-                                                                  (S (S (S (S
-                                                                  (S (S (S (S
-                                                                  (S (S (S (S
-                                                                  (S (S (S (S
-                                                                  (S (S (S (S
-                                                                  (S (S (S (S
-                                                                  (S
-                                                                  O)))))))))))))))))))))))))))))))))))))))))))))))))))))))))))))))))))))))))))))))))
-                                                                  (String
-                                                                  ((Ascii
-                                                                  (false,
-                                                                  true, true,
-                                                                  true,
-                                                                  false,
-                                                                  false,
-                                                                  true,
-                                                                  false)),
-                                                                  (String
-                                                                  ((Ascii
-                                                                  (true,
-                                                                  false,
-                                                                  false,
-                                                                  false,
-                                                                  false,
-                                                                  true, true,
-                                                                  false)),
-                                                                  (String
-                                                                  ((Ascii
-                                                                  (true,
-                                                                  false,
-                                                                  true, true,
-                                                                  false,
-                                                                  true, true,
-                                                                  false)),
-                                                                  (String
-                                                                  ((Ascii
-                                                                  (true,
-                                                                  false,
-                                                                  true,
-                                                                  false,
-                                                                  false,
-                                                                  true, true,
-                                                                  false)),
-                                                                  EmptyString))))))))
-                                                                  ((String
-                                                                  ((Ascii
-                                                                  (true,
-                                                                  true,
-                                                                  false,
-                                                                  false,
-                                                                  true, true,
-                                                                  true,
-                                                                  false)),
-                                                                  (String
-                                                                  ((Ascii
-                                                                  (false,
-                                                                  false,
-                                                                  true,
-                                                                  false,
-                                                                  true, true,
-                                                                  true,
-                                                                  false)),
-                                                                  (String
-                                                                  ((Ascii
-                                                                  (false,
-                                                                  true,
-                                                                  false,
-                                                                  false,
-                                                                  true, true,
-                                                                  true,
-                                                                  false)),
-                                                                  (String
-                                                                  ((Ascii
-                                                                  (true,
-                                                                  false,
-                                                                  false,
-                                                                  true,
-                                                                  false,
-                                                                  true, true,
-                                                                  false)),
-                                                                  (String
-                                                                  ((Ascii
-                                                                  (false,
-                                                                  true, true,
-                                                                  true,
-                                                                  false,
-                                                                  true, true,
-                                                                  false)),
-                                                                  (String
-                                                                  ((Ascii
-                                                                  (true,
-                                                                  true, true,
-                                                                  false,
-                                                                  false,
-                                                                  true, true,
-                                                                  false)),
-                                                                  (String
-                                                                  ((Ascii
-                                                                  (true,
-                                                                  true,
-                                                                  false,
-                                                                  false,
-                                                                  true, true,
-                                                                  true,
-                                                                  false)),
-                                                                  (String
-                                                                  ((Ascii
-                                                                  (false,
-                                                                  true, true,
-                                                                  true,
-                                                                  false,
-                                                                  true,
-                                                                  false,
-                                                                  false)),
-                                                                  (String
-                                                                  ((Ascii
-                                                                  (false,
-                                                                  false,
-                                                                  true,
-                                                                  false,
-                                                                  true,
-                                                                  false,
-                                                                  true,
-                                                                  false)),
-                                                                  (String
-                                                                  ((Ascii
-                                                                  (false,
-                                                                  true,
-                                                                  false,
-                                                                  false,
-                                                                  true, true,
-                                                                  true,
-                                                                  false)),
-                                                                  (String
-                                                                  ((Ascii
-                                                                  (true,
-                                                                  false,
-                                                                  false,
-                                                                  true,
-                                                                  false,
-                                                                  true, true,
-                                                                  false)),
-                                                                  (String
-                                                                  ((Ascii
-                                                                  (true,
-                                                                  false,
-                                                                  true, true,
-                                                                  false,
-                                                                  true, true,
-                                                                  false)),
-                                                                  (String
-                                                                  ((Ascii
-                                                                  (true,
-                                                                  true,
-                                                                  false,
-                                                                  false,
-                                                                  true,
-                                                                  false,
-                                                                  true,
-                                                                  false)),
-                                                                  (String
-                                                                  ((Ascii
-                                                                  (false,
-                                                                  false,
-                                                                  false,
-                                                                  false,
-                                                                  true, true,
-                                                                  true,
-                                                                  false)),
-                                                                  (String
-                                                                  ((Ascii
-                                                                  (true,
-                                                                  false,
-                                                                  false,
-                                                                  false,
-                                                                  false,
-                                                                  true, true,
-                                                                  false)),
-                                                                  (String
-                                                                  ((Ascii
-                                                                  (true,
-                                                                  true,
-                                                                  false,
-                                                                  false,
-                                                                  false,
-                                                                  true, true,
-                                                                  false)),
-                                                                  (String
-                                                                  ((Ascii
-                                                                  (true,
-                                                                  false,
-                                                                  true,
-                                                                  false,
-                                                                  false,
-                                                                  true, true,
-                                                                  false)),
-                                                                  EmptyString)))))))))))))))))))))))))))))))))) :: [])) :: (
-    (mkcut (S (S (S (S (S (S (S (S (S (S (S (S (S (S (S (S (S (S (S (S (S (S
-      (S (S (S (S (S (S (S (S (S (S (S (S (S (S (S (S (S (S (S (S (S (S (S (S
-      (S (S (S (S (S (S (S (S (S (S (S (S (S (S (S (S (S (S (S (S (S (S (S (S
-      (S (S (S (S (S (S (S (S (S (S (S
-      O)))))))))))))))))))))))))))))))))))))))))))))))))))))))))))))))))))))))))))))))))
-      (S (S (S (S (S (S (S (S (S (S (S (S (S (S (S (S (S (S (S (S (S (S (S (S
-      (S (S (S (S (S (S (S (S (S (S (S (S (S (S (S (S (S (S (S (S (S (S (S (S
-      (S (S (S (S (S (S (S (S (S (S (S (S (S (S (S (S (S (S (S (S (S (S (S (S
-      (S (S (S (S (S (S (S (S (S (S (S (S (S (S (S
-      O)))))))))))))))))))))))))))))))))))))))))))))))))))))))))))))))))))))))))))))))))))))))
-      EmptyString []) :: ((mkcut (S (S (S (S (S (S (S (S (S (S (S (S (S (S (S
-                            (S (S (S (S (S (S (S (S (S (S (S (S (S (S (S (S
-                            (S (S (S (S (S (S (S (S (S (S (S (S (S (S (S (S
-                            (S (S (S (S (S (S (S (S (S (S (S (S (S (S (S (S
-                            (S (S (S (S (S (S (S (S (S (S (S (S (S (S (S (S
-                            (S (S (S (S (S (S (S (S
-                            O)))))))))))))))))))))))))))))))))))))))))))))))))))))))))))))))))))))))))))))))))))))))
-                            (S (S (S (S (S (S (S (S (S (S (S (S (S (S (S (S
-                            (S (S (S (S (S (S (S (S (S (S (S (S (S (S (S (S
-                            (S (S (S (S (S (S (S (S (S (S (S (S (S (S (S (S
-                            (S (S (S (S (S (S (S (S (S (S (S (S (S (S (S (S
-                            (S (S (S (S (S (S (S (S (S (S (S (S (S (S (S (S
-                            (S (S (S (S (S (S (S (S (S (S (S (S (S (S
-                            O))))))))))))))))))))))))))))))))))))))))))))))))))))))))))))))))))))))))))))))))))))))))))))))
-                            (String ((Ascii (true, false, true, false, false,
-                            false, true, false)), (String ((Ascii (false,
-                            true, true, true, false, true, true, false)),
-                            (String ((Ascii (false, false, true, false, true,
-                            true, true, false)), (String ((Ascii (false,
-                            true, false, false, true, true, true, false)),
-                            (String ((Ascii (true, false, false, true, true,
-                            true, true, false)), (String ((Ascii (false,
-                            false, true, false, false, false, true, false)),
-                            (String ((Ascii (true, false, true, false, false,
-                            true, true, false)), (String ((Ascii (false,
-                            false, true, false, true, true, true, false)),
-                            (String ((Ascii (true, false, false, false,
-                            false, true, true, false)), (String ((Ascii
-                            (true, false, false, true, false, true, true,
-                            false)), (String ((Ascii (false, false, true,
-                            true, false, true, true, false)), (String ((Ascii
-                            (true, true, false, false, true, false, true,
-                            false)), (String ((Ascii (true, false, true,
-                            false, false, true, true, false)), (String
-                            ((Ascii (true, false, false, false, true, true,
-                            true, false)), (String ((Ascii (true, false,
-                            true, false, true, true, true, false)), (String
-                            ((Ascii (true, false, true, false, false, true,
-                            true, false)), (String ((Ascii (false, true,
-                            true, true, false, true, true, false)), (String
-                            ((Ascii (true, true, false, false, false, true,
-                            true, false)), (String ((Ascii (true, false,
-                            true, false, false, true, true, false)), (String
-                            ((Ascii (false, true, true, true, false, false,
-                            true, false)), (String ((Ascii (true, false,
-                            true, false, true, true, true, false)), (String
-                            ((Ascii (true, false, true, true, false, true,
-                            true, false)), (String ((Ascii (false, true,
-                            false, false, false, true, true, false)), (String
-                            ((Ascii (true, false, true, false, false, true,
-                            true, false)), (String ((Ascii (false, true,
-                            false, false, true, true, true, false)),
-                            EmptyString))))))))))))))))))))))))))))))))))))))))))))))))))
-                            ((String ((Ascii (false, false, false, false,
-                            true, true, true, false)), (String ((Ascii (true,
-                            false, false, false, false, true, true, false)),
-                            (String ((Ascii (false, true, false, false, true,
-                            true, true, false)), (String ((Ascii (true, true,
-                            false, false, true, true, true, false)), (String
-                            ((Ascii (true, false, true, false, false, true,
-                            true, false)), (String ((Ascii (false, true,
-                            true, true, false, false, true, false)), (String
-                            ((Ascii (true, false, true, false, true, true,
-                            true, false)), (String ((Ascii (true, false,
-                            true, true, false, true, true, false)), (String
-                            ((Ascii (false, true, true, false, false, false,
-                            true, false)), (String ((Ascii (true, false,
-                            false, true, false, true, true, false)), (String
-                            ((Ascii (true, false, true, false, false, true,
-                            true, false)), (String ((Ascii (false, false,
-                            true, true, false, true, true, false)), (String
-                            ((Ascii (false, false, true, false, false, true,
-                            true, false)),
-                            EmptyString)))))))))))))))))))))))))) :: [])) :: [])))))))) }
-
-(** val l_Addenda11 : layout **)
-
-let l_Addenda11 =
-  { l_name = (String ((Ascii (true, false, false, false, false, false, true,
-    false)), (String ((Ascii (false, false, true, false, false, true, true,
-    false)), (String ((Ascii (false, false, true, false, false, true, true,
-    false)), (String ((Ascii (true, false, true, false, false, true, true,
-    false)), (String ((Ascii (false, true, true, true, false, true, true,
-    false)), (String ((Ascii (false, false, true, false, false, true, true,
-    false)), (String ((Ascii (true, false, false, false, false, true, true,
-    false)), (String ((Ascii (true, false, false, false, true, true, false,
-    false)), (String ((Ascii (true, false, false, false, true, true, false,
-    false)), EmptyString)))))))))))))))))); l_ix = IRune; l_segs = ((SLit
-    ((Npos (XI (XI (XI (XO (XI XH)))))) :: [])) :: ((SRaw (String ((Ascii
-    (false, false, true, false, true, false, true, false)), (String ((Ascii
-    (true, false, false, true, true, true, true, false)), (String ((Ascii
-    (false, false, false, false, true, true, true, false)), (String ((Ascii
-    (true, false, true, false, false, true, true, false)), (String ((Ascii
-    (true, true, false, false, false, false, true, false)), (String ((Ascii
-    (true, true, true, true, false, true, true, false)), (String ((Ascii
-    (false, false, true, false, false, true, true, false)), (String ((Ascii
-    (true, false, true, false, false, true, true, false)),
-    EmptyString))))))))))))))))) :: ((SAlpha ((String ((Ascii (true, true,
-    true, true, false, false, true, false)), (String ((Ascii (false, true,
-    false, false, true, true, true, false)), (String ((Ascii (true, false,
-    false, true, false, true, true, false)), (String ((Ascii (true, true,
-    true, false, false, true, true, false)), (String ((Ascii (true, false,
-    false, true, false, true, true, false)), (String ((Ascii (false, true,
-    true, true, false, true, true, false)), (String ((Ascii (true, false,
-    false, false, false, true, true, false)), (String ((Ascii (false, false,
-    true, false, true, true, true, false)), (String ((Ascii (true, true,
-    true, true, false, true, true, false)), (String ((Ascii (false, true,
-    false, false, true, true, true, false)), (String ((Ascii (false, true,
-    true, true, false, false, true, false)), (String ((Ascii (true, false,
-    false, false, false, true, true, false)), (String ((Ascii (true, false,
-    true, true, false, true, true, false)), (String ((Ascii (true, false,
-    true, false, false, true, true, false)),
-    EmptyString)))))))))))))))))))))))))))), (S (S (S (S (S (S (S (S (S (S (S
-    (S (S (S (S (S (S (S (S (S (S (S (S (S (S (S (S (S (S (S (S (S (S (S (S
-    O))))))))))))))))))))))))))))))))))))) :: ((SAlpha ((String ((Ascii
-    (true, true, true, true, false, false, true, false)), (String ((Ascii
-    (false, true, false, false, true, true, true, false)), (String ((Ascii
-    (true, false, false, true, false, true, true, false)), (String ((Ascii
-    (true, true, true, false, false, true, true, false)), (String ((Ascii
-    (true, false, false, true, false, true, true, false)), (String ((Ascii
-    (false, true, true, true, false, true, true, false)), (String ((Ascii
-    (true, false, false, false, false, true, true, false)), (String ((Ascii
-    (false, false, true, false, true, true, true, false)), (String ((Ascii
-    (true, true, true, true, false, true, true, false)), (String ((Ascii
-    (false, true, false, false, true, true, true, false)), (String ((Ascii
-    (true, true, false, false, true, false, true, false)), (String ((Ascii
-    (false, false, true, false, true, true, true, false)), (String ((Ascii
-    (false, true, false, false, true, true, true, false)), (String ((Ascii
-    (true, false, true, false, false, true, true, false)), (String ((Ascii
-    (true, false, true, false, false, true, true, false)), (String ((Ascii
-    (false, false, true, false, true, true, true, false)), (String ((Ascii
-    (true, false, false, false, false, false, true, false)), (String ((Ascii
-    (false, false, true, false, false, true, true, false)), (String ((Ascii
-    (false, false, true, false, false, true, true, false)), (String ((Ascii
-    (false, true, false, false, true, true, true, false)), (String ((Ascii
-    (true, false, true, false, false, true, true, false)), (String ((Ascii
-    (true, true, false, false, true, true, true, false)), (String ((Ascii
-    (true, true, false, false, true, true, true, false)),
-    EmptyString)))))))))))))))))))))))))))))))))))))))))))))), (S (S (S (S (S
-    (S (S (S (S (S (S (S (S (S (S (S (S (S (S (S (S (S (S (S (S (S (S (S (S
-    (S (S (S (S (S (S O))))))))))))))))))))))))))))))))))))) :: ((SLit ((Npos
-    (XO (XO (XO (XO (XO XH)))))) :: ((Npos (XO (XO (XO (XO (XO
-    XH)))))) :: ((Npos (XO (XO (XO (XO (XO XH)))))) :: ((Npos (XO (XO (XO (XO
-    (XO XH)))))) :: ((Npos (XO (XO (XO (XO (XO XH)))))) :: ((Npos (XO (XO (XO
-    (XO (XO XH)))))) :: ((Npos (XO (XO (XO (XO (XO XH)))))) :: ((Npos (XO (XO
-    (XO (XO (XO XH)))))) :: ((Npos (XO (XO (XO (XO (XO XH)))))) :: ((Npos (XO
-    (XO (XO (XO (XO XH)))))) :: ((Npos (XO (XO (XO (XO (XO XH)))))) :: ((Npos
-    (XO (XO (XO (XO (XO XH)))))) :: ((Npos (XO (XO (XO (XO (XO
-    XH)))))) :: ((Npos (XO (XO (XO (XO (XO
-    XH)))))) :: []))))))))))))))) :: ((SNum ((String ((Ascii (true, false,
-    true, false, false, false, true, false)), (String ((Ascii (false, true,
-    true, true, false, true, true, false)), (String ((Ascii (false, false,
-    true, false, true, true, true, false)), (String ((Ascii (false, true,
-    false, false, true, true, true, false)), (String ((Ascii (true, false,
-    false, true, true, true, true, false)), (String ((Ascii (false, false,
-    true, false, false, false, true, false)), (String ((Ascii (true, false,
-    true, false, false, true, true, false)), (String ((Ascii (false, false,
-    true, false, true, true, true, false)), (String ((Ascii (true, false,
-    false, false, false, true, true, false)), (String ((Ascii (true, false,
-    false, true, false, true, true, false)), (String ((Ascii (false, false,
-    true, true, false, true, true, false)), (String ((Ascii (true, true,
-    false, false, true, false, true, false)), (String ((Ascii (true, false,
-    true, false, false, true, true, false)), (String ((Ascii (true, false,
-    false, false, true, true, true, false)), (String ((Ascii (true, false,
-    true, false, true, true, true, false)), (String ((Ascii (true, false,
-    true, false, false, true, true, false)), (String ((Ascii (false, true,
-    true, true, false, true, true, false)), (String ((Ascii (true, true,
-    false, false, false, true, true, false)), (String ((Ascii (true, false,
-    true, false, false, true, true, false)), (String ((Ascii (false, true,
-    true, true, false, false, true, false)), (String ((Ascii (true, false,
-    true, false, true, true, true, false)), (String ((Ascii (true, false,
-    true, true, false, true, true, false)), (String ((Ascii (false, true,
-    false, false, false, true, true, false)), (String ((Ascii (true, false,
-    true, false, false, true, true, false)), (String ((Ascii (false, true,
-    false, false, true, true, true, false)),
-    EmptyString)))))))))))))))))))))))))))))))))))))))))))))))))), (S (S (S
-    (S (S (S (S O))))))))) :: [])))))); l_cuts =
-    ((mkcut O (S O) EmptyString []) :: ((mkcut (S O) (S (S (S O))) (String
-                                          ((Ascii (false, false, true, false,
-                                          true, false, true, false)), (String
-                                          ((Ascii (true, false, false, true,
-                                          true, true, true, false)), (String
-                                          ((Ascii (false, false, false,
-                                          false, true, true, true, false)),
-                                          (String ((Ascii (true, false, true,
-                                          false, false, true, true, false)),
-                                          (String ((Ascii (true, true, false,
-                                          false, false, false, true, false)),
-                                          (String ((Ascii (true, true, true,
-                                          true, false, true, true, false)),
-                                          (String ((Ascii (false, false,
-                                          true, false, false, true, true,
-                                          false)), (String ((Ascii (true,
-                                          false, true, false, false, true,
-                                          true, false)),
-                                          EmptyString)))))))))))))))) []) :: (
-    (mkcut (S (S (S O))) (S (S (S (S (S (S (S (S (S (S (S (S (S (S (S (S (S
-      (S (S (S (S (S (S (S (S (S (S (S (S (S (S (S (S (S (S (S (S (S
-      O)))))))))))))))))))))))))))))))))))))) (String ((Ascii (true, true,
-      true, true, false, false, true, false)), (String ((Ascii (false, true,
-      false, false, true, true, true, false)), (String ((Ascii (true, false,
-      false, true, false, true, true, false)), (String ((Ascii (true, true,
-      true, false, false, true, true, false)), (String ((Ascii (true, false,
-      false, true, false, true, true, false)), (String ((Ascii (false, true,
-      true, true, false, true, true, false)), (String ((Ascii (true, false,
-      false, false, false, true, true, false)), (String ((Ascii (false,
-      false, true, false, true, true, true, false)), (String ((Ascii (true,
-      true, true, true, false, true, true, false)), (String ((Ascii (false,
-      true, false, false, true, true, true, false)), (String ((Ascii (false,
-      true, true, true, false, false, true, false)), (String ((Ascii (true,
-      false, false, false, false, true, true, false)), (String ((Ascii (true,
-      false, true, true, false, true, true, false)), (String ((Ascii (true,
-      false, true, false, false, true, true, false)),
-      EmptyString)))))))))))))))))))))))))))) ((String ((Ascii (true, true,
-      false, false, true, true, true, false)), (String ((Ascii (false, false,
-      true, false, true, true, true, false)), (String ((Ascii (false, true,
-      false, false, true, true, true, false)), (String ((Ascii (true, false,
-      false, true, false, true, true, false)), (String ((Ascii (false, true,
-      true, true, false, true, true, false)), (String ((Ascii (true, true,
-      true, false, false, true, true, false)), (String ((Ascii (true, true,
-      false, false, true, true, true, false)), (String ((Ascii (false, true,
-      true, true, false, true, false, false)), (String ((Ascii (false, false,
-      true, false, true, false, true, false)), (String ((Ascii (false, true,
-      false, false, true, true, true, false)), (String ((Ascii (true, false,
-      false, true, false, true, true, false)), (String ((Ascii (true, false,
-      true, true, false, true, true, false)), (String ((Ascii (true, true,
-      false, false, true, false, true, false)), (String ((Ascii (false,
-      false, false, false, true, true, true, false)), (String ((Ascii (true,
-      false, false, false, false, true, true, false)), (String ((Ascii (true,
-      true, false, false, false, true, true, false)), (String ((Ascii (true,
-      false, true, false, false, true, true, false)),
-      EmptyString)))))))))))))))))))))))))))))))))) :: [])) :: ((mkcut (S (S
-                                                                  (S (S (S (S
-                                                                  (S (S (S (S
-                                                                  (S (S (S (S
-                                                                  (S (S (S (S
-                                                                  (S (S (S (S
-                                                                  (S (S (S (S
-                                                                  (S (S (S (S
-                                                                  (S (S (S (S
-                                                                  (S (S (S (S
-                                                                  O))))))))))))))))))))))))))))))))))))))
-                                                                  (S (S (S (S
-                                                                  (S (S (S (S
-                                                                  (S (S (S (S
-                                                                  (S (S (S (S
-                                                                  (S (S (S (S
-                                                                  (S (S (S (S
-                                                                  (S (S (S (S
-                                                                  (S (S (S (S
-                                                                  (S (S (S (S
-                                                                  (S (S (S (S
-                                                                  (S (S (S (S
-                                                                  (S (S (S (S
-                                                                  (S (S (S (S
-                                                                  (S (S (S (S
-                                                                  (S (S (S (S
-                                                                  (S (S (S (S
-                                                                  (S (S (S (S
-                                                                  (S (S (S (S
-                                                                  (S
-                                                                  O)))))))))))))))))))))))))))))))))))))))))))))))))))))))))))))))))))))))))
-                                                                  (String
-                                                                  ((Ascii
-                                                                  (true,
-                                                                  true, true,
-                                                                  true,
-                                                                  false,
-                                                                  false,
-                                                                  true,
-                                                                  false)),
-                                                                  (String
-                                                                  ((Ascii
-                                                                  (false,
-                                                                  true,
-                                                                  false,
-                                                                  false,
-                                                                  true, true,
-                                                                  true,
-                                                                  false)),
-                                                                  (String
-                                                                  ((Ascii
-                                                                  (true,
-                                                                  false,
-                                                                  false,
-                                                                  true,
-                                                                  false,
-                                                                  true, true,
-                                                                  false)),
-                                                                  (String
-                                                                  ((Ascii
-                                                                  (true,
-                                                                  true, true,
-                                                                  false,
-                                                                  false,
-                                                                  true, true,
-                                                                  false)),
-                                                                  (String
-                                                                  ((Ascii
-                                                                  (true,
-                                                                  false,
-                                                                  false,
-                                                                  true,
-                                                                  false,
-                                                                  true, true,
-                                                                  false)),
-                                                                  (String
-                                                                  ((Ascii
-                                                                  (false,
-                                                                  true, true,
-                                                                  true,
-                                                                  false,
-                                                                  true, true,
-                                                                  false)),
-                                                                  (String
-                                                                  ((Ascii
-                                                                  (true,
-                                                                  false,
-                                                                  false,
-                                                                  false,
-                                                                  false,
-                                                                  true, true,
-                                                                  false)),
-                                                                  (String
-                                                                  ((Ascii
-                                                                  (false,
-                                                                  false,
-                                                                  true,
-                                                                  false,
-                                                                  true, true,
-                                                                  true,
-                                                                  false)),
-                                                                  (String
-                                                                  ((Ascii
-                                                                  (true,
-                                                                  true, true,
-                                                                  true,
-                                                                  false,
-                                                                  true, true,
-                                                                  false)),
-                                                                  (String
-                                                                  ((Ascii
-                                                                  (false,
-                                                                  true,
-                                                                  false,
-                                                                  false,
-                                                                  true, true,
-                                                                  true,
-                                                                  false)),
-                                                                  (String
-                                                                  ((Ascii
-                                                                  (true,
-                                                                  true,
-                                                                  false,
-                                                                  false,
-                                                                  true,
-                                                                  false,
-                                                                  true,
-                                                                  false)),
-                                                                  (String
-                                                                  ((Ascii
-                                                                  (false,
-                                                                  false,
-                                                                  true,
-                                                                  false,
-                                                                  true, true,
-                                                                  true,
-                                                                  false)),
-                                                                  (String
-                                                                  ((Ascii
-                                                                  (false,
-                                                                  true,
-                                                                  false,
-                                                                  false,
-                                                                  true, true,
-                                                                  true,
-                                                                  false)),
-                                                                  (String
-                                                                  ((Ascii
-                                                                  (true,
-                                                                  false,
-                                                                  true,
-                                                                  false,
-                                                                  false,
-                                                                  true, true,
-                                                                  false)),
-                                                                  (String
-                                                                  ((Ascii
-                                                                  (true,
-                                                                  false,
-                                                                  true,
-                                                                  false,
-                                                                  false,
-                                                                  true, true,
-                                                                  false)),
-                                                                  (String
-                                                                  ((Ascii
-                                                                  (false,
-                                                                  false,
-                                                                  true,
-                                                                  false,
-                                                                  true, true,
-                                                                  true,
-                                                                  false)),
-                                                                  (String
-                                                                  ((Ascii
-                                                                  (true,
-                                                                  false,
-                                                                  false,
-                                                                  false,
-                                                                  false,
-                                                                  false,
-                                                                  true,
-                                                                  false)),
-                                                                  (String
-                                                                  ((Ascii
-                                                                  (false,
-                                                                  false,
-                                                                  true,
-                                                                  false,
-                                                                  false,
-                                                                  true, true,
-                                                                  false)),
-                                                                  (String
-                                                                  ((Ascii
-                                                                  (false,
-                                                                  false,
-                                                                  true,
-                                                                  false,
-                                                                  false,
-                                                                  true, true,
-                                                                  false)),
-                                                                  (String
-                                                                  ((Ascii
-                                                                  (false,
-                                                                  true,
-                                                                  false,
-                                                                  false,
-                                                                  true, true,
-                                                                  true,
-                                                                  false)),
-                                                                  (String
-                                                                  ((Ascii
-                                                                  (true,
-                                                                  false,
-                                                                  true,
-                                                                  false,
-                                                                  false,
-                                                                  true, true,
-                                                                  false)),
-                                                                  (String
-                                                                  ((Ascii
-                                                                  (true,
-                                                                  true,
-                                                                  false,
-                                                                  false,
-                                                                  true, true,
-                                                                  true,
-                                                                  false)),
-                                                                  (String
-                                                                  ((Ascii
-                                                                  (true,
-                                                                  true,
-                                                                  false,
-                                                                  false,
-                                                                  true, true,
-                                                                  true,
-                                                                  false)),
-                                                                  EmptyString))))))))))))))))))))))))))))))))))))))))))))))
-                                                                  ((String
-                                                                  ((Ascii
-                                                                  (true,
-                                                                  true,
-                                                                  false,
-                                                                  false,
-                                                                  true, true,
-                                                                  true,
-                                                                  false)),
-                                                                  (String
-                                                                  ((Ascii
-                                                                  (false,
-                                                                  false,
-                                                                  true,
-                                                                  false,
-                                                                  true, true,
-                                                                  true,
-                                                                  false)),
-                                                                  (String
-                                                                  ((Ascii
-                                                                  (false,
-                                                                  true,
-                                                                  false,
-                                                                  false,
-                                                                  true, true,
-                                                                  true,
-                                                                  false)),
-                                                                  (String
-                                                                  ((Ascii
-                                                                  (true,
-                                                                  false,
-                                                                  false,
-                                                                  true,
-                                                                  false,
-                                                                  true, true,
-                                                                  false)),
-                                                                  (String
-                                                                  ((Ascii
-                                                                  (false,
-                                                                  true, true,
-                                                                  true,
-                                                                  false,
-                                                                  true, true,
-                                                                  false)),
-                                                                  (String
-                                                                  ((Ascii
-                                                                  (true,
-                                                                  true, true,
-                                                                  false,
-                                                                  false,
-                                                                  true, true,
-                                                                  false)),
-                                                                  (String
-                                                                  ((Ascii
-                                                                  (true,
-                                                                  true,
-                                                                  false,
-                                                                  false,
-                                                                  true, true,
-                                                                  true,
-                                                                  false)),
-                                                                  (String
-                                                                  ((Ascii
-                                                                  (false,
-                                                                  true, true,
-                                                                  true,
-                                                                  false,
-                                                                  true,
-                                                                  false,
-                                                                  false)),
-                                                                  (String
-                                                                  ((Ascii
-                                                                  (false,
-                                                                  false,
-                                                                  true,
-                                                                  false,
-                                                                  true,
-                                                                  false,
-                                                                  true,
-                                                                  false)),
-                                                                  (String
-                                                                  ((Ascii
-                                                                  (false,
-                                                                  true,
-                                                                  false,
-                                                                  false,
-                                                                  true, true,
-                                                                  true,
-                                                                  false)),
-                                                                  (String
-                                                                  ((Ascii
-                                                                  (true,
-                                                                  false,
-                                                                  false,
-                                                                  true,
-                                                                  false,
-                                                                  true, true,
-                                                                  false)),
-                                                                  (String
-                                                                  ((Ascii
-                                                                  (true,
-                                                                  false,
-                                                                  true, true,
-                                                                  false,
-                                                                  true, true,
-                                                                  false)),
-                                                                  (String
-                                                                  ((Ascii
-                                                                  (true,
-                                                                  true,
-                                                                  false,
-                                                                  false,
-                                                                  true,
-                                                                  false,
-                                                                  true,
-                                                                  false)),
-                                                                  (String
-                                                                  ((Ascii
-                                                                  (false,
-                                                                  false,
-                                                                  false,
-                                                                  false,
-                                                                  true, true,
-                                                                  true,
-                                                                  false)),
-                                                                  (String
-                                                                  ((Ascii
-                                                                  (true,
-                                                                  false,
-                                                                  false,
-                                                                  false,
-                                                                  false,
-                                                                  true, true,
-                                                                  false)),
-                                                                  (String
-                                                                  ((Ascii
-                                                                  (true,
-                                                                  true,
-                                                                  false,
-                                                                  false,
-                                                                  false,
-                                                                  true, true,
-                                                                  false)),
-                                                                  (String
-                                                                  ((Ascii
-                                                                  (true,
-                                                                  false,
-                                                                  true,
-                                                                  false,
-                                                                  false,
-                                                                  true, true,
-                                                                  false)),
-                                                                  EmptyString)))))))))))))))))))))))))))))))))) :: [])) :: (
-    (mkcut (S (S (S (S (S (S (S (S (S (S (S (S (S (S (S (S (S (S (S (S (S (S
-      (S (S (S (S (S (S (S (S (S (S (S (S (S (S (S (S (S (S (S (S (S (S (S (S
-      (S (S (S (S (S (S (S (S (S (S (S (S (S (S (S (S (S (S (S (S (S (S (S (S
-      (S (S (S
-      O)))))))))))))))))))))))))))))))))))))))))))))))))))))))))))))))))))))))))
-      (S (S (S (S (S (S (S (S (S (S (S (S (S (S (S (S (S (S (S (S (S (S (S (S
-      (S (S (S (S (S (S (S (S (S (S (S (S (S (S (S (S (S (S (S (S (S (S (S (S
-      (S (S (S (S (S (S (S (S (S (S (S (S (S (S (S (S (S (S (S (S (S (S (S (S
-      (S (S (S (S (S (S (S (S (S (S (S (S (S (S (S
-      O)))))))))))))))))))))))))))))))))))))))))))))))))))))))))))))))))))))))))))))))))))))))
-      EmptyString []) :: ((mkcut (S (S (S (S (S (S (S (S (S (S (S (S (S (S (S
-                            (S (S (S (S (S (S (S (S (S (S (S (S (S (S (S (S
-                            (S (S (S (S (S (S (S (S (S (S (S (S (S (S (S (S
-                            (S (S (S (S (S (S (S (S (S (S (S (S (S (S (S (S
-                            (S (S (S (S (S (S (S (S (S (S (S (S (S (S (S (S
-                            (S (S (S (S (S (S (S (S
-                            O)))))))))))))))))))))))))))))))))))))))))))))))))))))))))))))))))))))))))))))))))))))))
-                            (S (S (S (S (S (S (S (S (S (S (S (S (S (S (S (S
-                            (S (S (S (S (S (S (S (S (S (S (S (S (S (S (S (S
-                            (S (S (S (S (S (S (S (S (S (S (S (S (S (S (S (S
-                            (S (S (S (S (S (S (S (S (S (S (S (S (S (S (S (S
-                            (S (S (S (S (S (S (S (S (S (S (S (S (S (S (S (S
-                            (S (S (S (S (S (S (S (S (S (S (S (S (S (S
-                            O))))))))))))))))))))))))))))))))))))))))))))))))))))))))))))))))))))))))))))))))))))))))))))))
-                            (String ((Ascii (true, false, true, false, false,
-                            false, true, false)), (String ((Ascii (false,
-                            true, true, true, false, true, true, false)),
-                            (String ((Ascii (false, false, true, false, true,
-                            true, true, false)), (String ((Ascii (false,
-                            true, false, false, true, true, true, false)),
-                            (String ((Ascii (true, false, false, true, true,
-                            true, true, false)), (String ((Ascii (false,
-                            false, true, false, false, false, true, false)),
-                            (String ((Ascii (true, false, true, false, false,
-                            true, true, false)), (String ((Ascii (false,
-                            false, true, false, true, true, true, false)),
-                            (String ((Ascii (true, false, false, false,
-                            false, true, true, false)), (String ((Ascii
-                            (true, false, false, true, false, true, true,
-                            false)), (String ((Ascii (false, false, true,
-                            true, false, true, true, false)), (String ((Ascii
-                            (true, true, false, false, true, false, true,
-                            false)), (String ((Ascii (true, false, true,
-                            false, false, true, true, false)), (String
-                            ((Ascii (true, false, false, false, true, true,
-                            true, false)), (String ((Ascii (true, false,
-                            true, false, true, true, true, false)), (String
-                            ((Ascii (true, false, true, false, false, true,
-                            true, false)), (String ((Ascii (false, true,
-                            true, true, false, true, true, false)), (String
-                            ((Ascii (true, true, false, false, false, true,
-                            true, false)), (String ((Ascii (true, false,
-                            true, false, false, true, true, false)), (String
-                            ((Ascii (false, true, true, true, false, false,
-                            true, false)), (String ((Ascii (true, false,
-                            true, false, true, true, true, false)), (String
-                            ((Ascii (true, false, true, true, false, true,
-                            true, false)), (String ((Ascii (false, true,
-                            false, false, false, true, true, false)), (String
-                            ((Ascii (true, false, true, false, false, true,
-                            true, false)), (String ((Ascii (false, true,
-                            false, false, true, true, true, false)),
-                            EmptyString))))))))))))))))))))))))))))))))))))))))))))))))))
-                            ((String ((Ascii (false, false, false, false,
-                            true, true, true, false)), (String ((Ascii (true,
-                            false, false, false, false, true, true, false)),
-                            (String ((Ascii (false, true, false, false, true,
-                            true, true, false)), (String ((Ascii (true, true,
-                            false, false, true, true, true, false)), (String
-                            ((Ascii (true, false, true, false, false, true,
-                            true, false)), (String ((Ascii (false, true,
-                            true, true, false, false, true, false)), (String
-                            ((Ascii (true, false, true, false, true, true,
-                            true, false)), (String ((Ascii (true, false,
-                            true, true, false, true, true, false)), (String
-                            ((Ascii (false, true, true, false, false, false,
-                            true, false)), (String ((Ascii (true, false,
-                            false, true, false, true, true, false)), (String
-                            ((Ascii (true, false, true, false, false, true,
-                            true, false)), (String ((Ascii (false, false,
-                            true, true, false, true, true, false)), (String
-                            ((Ascii (false, false, true, false, false, true,
-                            true, false)),
-                            EmptyString)))))))))))))))))))))))))) :: [])) :: [])))))) }
-
-(** val l_Addenda12 : layout **)
-
-let l_Addenda12 =
-  { l_name = (String ((Ascii (true, false, false, false, false, false, true,
-    false)), (String ((Ascii (false, false, true, false, false, true, true,
-    false)), (String ((Ascii (false, false, true, false, false, true, true,
-    false)), (String ((Ascii (true, false, true, false, false, true, true,
-    false)), (String ((Ascii (false, true, true, true, false, true, true,
-    false)), (String ((Ascii (false, false, true, false, false, true, true,
-    false)), (String ((Ascii (true, false, false, false, false, true, true,
-    false)), (String ((Ascii (true, false, false, false, true, true, false,
-    false)), (String ((Ascii (false, true, false, false, true, true, false,
-    false)), EmptyString)))))))))))))))))); l_ix = IRune; l_segs = ((SLit
-    ((Npos (XI (XI (XI (XO (XI XH)))))) :: [])) :: ((SRaw (String ((Ascii
-    (false, false, true, false, true, false, true, false)), (String ((Ascii
-    (true, false, false, true, true, true, true, false)), (String ((Ascii
-    (false, false, false, false, true, true, true, false)), (String ((Ascii
-    (true, false, true, false, false, true, true, false)), (String ((Ascii
-    (true, true, false, false, false, false, true, false)), (String ((Ascii
-    (true, true, true, true, false, true, true, false)), (String ((Ascii
-    (false, false, true, false, false, true, true, false)), (String ((Ascii
-    (true, false, true, false, false, true, true, false)),
-    EmptyString))))))))))))))))) :: ((SAlpha ((String ((Ascii (true, true,
-    true, true, false, false, true, false)), (String ((Ascii (false, true,
-    false, false, true, true, true, false)), (String ((Ascii (true, false,
-    false, true, false, true, true, false)), (String ((Ascii (true, true,
-    true, false, false, true, true, false)), (String ((Ascii (true, false,
-    false, true, false, true, true, false)), (String ((Ascii (false, true,
-    true, true, false, true, true, false)), (String ((Ascii (true, false,
-    false, false, false, true, true, false)), (String ((Ascii (false, false,
-    true, false, true, true, true, false)), (String ((Ascii (true, true,
-    true, true, false, true, true, false)), (String ((Ascii (false, true,
-    false, false, true, true, true, false)), (String ((Ascii (true, true,
-    false, false, false, false, true, false)), (String ((Ascii (true, false,
-    false, true, false, true, true, false)), (String ((Ascii (false, false,
-    true, false, true, true, true, false)), (String ((Ascii (true, false,
-    false, true, true, true, true, false)), (String ((Ascii (true, true,
-    false, false, true, false, true, false)), (String ((Ascii (false, false,
-    true, false, true, true, true, false)), (String ((Ascii (true, false,
-    false, false, false, true, true, false)), (String ((Ascii (false, false,
-    true, false, true, true, true, false)), (String ((Ascii (true, false,
-    true, false, false, true, true, false)), (String ((Ascii (false, false,
-    false, false, true, false, true, false)), (String ((Ascii (false, true,
-    false, false, true, true, true, false)), (String ((Ascii (true, true,
-    true, true, false, true, true, false)), (String ((Ascii (false, true,
-    true, false, true, true, true, false)), (String ((Ascii (true, false,
-    false, true, false, true, true, false)), (String ((Ascii (false, true,
-    true, true, false, true, true, false)), (String ((Ascii (true, true,
-    false, false, false, true, true, false)), (String ((Ascii (true, false,
-    true, false, false, true, true, false)),
-    EmptyString)))))))))))))))))))))))))))))))))))))))))))))))))))))), (S (S
-    (S (S (S (S (S (S (S (S (S (S (S (S (S (S (S (S (S (S (S (S (S (S (S (S
-    (S (S (S (S (S (S (S (S (S
-    O))))))))))))))))))))))))))))))))))))) :: ((SAlpha ((String ((Ascii
-    (true, true, true, true, false, false, true, false)), (String ((Ascii
-    (false, true, false, false, true, true, true, false)), (String ((Ascii
-    (true, false, false, true, false, true, true, false)), (String ((Ascii
-    (true, true, true, false, false, true, true, false)), (String ((Ascii
-    (true, false, false, true, false, true, true, false)), (String ((Ascii
-    (false, true, true, true, false, true, true, false)), (String ((Ascii
-    (true, false, false, false, false, true, true, false)), (String ((Ascii
-    (false, false, true, false, true, true, true, false)), (String ((Ascii
-    (true, true, true, true, false, true, true, false)), (String ((Ascii
-    (false, true, false, false, true, true, true, false)), (String ((Ascii
-    (true, true, false, false, false, false, true, false)), (String ((Ascii
-    (true, true, true, true, false, true, true, false)), (String ((Ascii
-    (true, false, true, false, true, true, true, false)), (String ((Ascii
-    (false, true, true, true, false, true, true, false)), (String ((Ascii
-    (false, false, true, false, true, true, true, false)), (String ((Ascii
-    (false, true, false, false, true, true, true, false)), (String ((Ascii
-    (true, false, false, true, true, true, true, false)), (String ((Ascii
-    (false, false, false, false, true, false, true, false)), (String ((Ascii
-    (true, true, true, true, false, true, true, false)), (String ((Ascii
-    (true, true, false, false, true, true, true, false)), (String ((Ascii
-    (false, false, true, false, true, true, true, false)), (String ((Ascii
-    (true, false, false, false, false, true, true, false)), (String ((Ascii
-    (false, false, true, true, false, true, true, false)), (String ((Ascii
-    (true, true, false, false, false, false, true, false)), (String ((Ascii
-    (true, true, true, true, false, true, true, false)), (String ((Ascii
-    (false, false, true, false, false, true, true, false)), (String ((Ascii
-    (true, false, true, false, false, true, true, false)),
-    EmptyString)))))))))))))))))))))))))))))))))))))))))))))))))))))), (S (S
-    (S (S (S (S (S (S (S (S (S (S (S (S (S (S (S (S (S (S (S (S (S (S (S (S
-    (S (S (S (S (S (S (S (S (S
-    O))))))))))))))))))))))))))))))))))))) :: ((SLit ((Npos (XO (XO (XO (XO
-    (XO XH)))))) :: ((Npos (XO (XO (XO (XO (XO XH)))))) :: ((Npos (XO (XO (XO
-    (XO (XO XH)))))) :: ((Npos (XO (XO (XO (XO (XO XH)))))) :: ((Npos (XO (XO
-    (XO (XO (XO XH)))))) :: ((Npos (XO (XO (XO (XO (XO XH)))))) :: ((Npos (XO
-    (XO (XO (XO (XO XH)))))) :: ((Npos (XO (XO (XO (XO (XO XH)))))) :: ((Npos
-    (XO (XO (XO (XO (XO XH)))))) :: ((Npos (XO (XO (XO (XO (XO
-    XH)))))) :: ((Npos (XO (XO (XO (XO (XO XH)))))) :: ((Npos (XO (XO (XO (XO
-    (XO XH)))))) :: ((Npos (XO (XO (XO (XO (XO XH)))))) :: ((Npos (XO (XO (XO
-    (XO (XO XH)))))) :: []))))))))))))))) :: ((SNum ((String ((Ascii (true,
-    false, true, false, false, false, true, false)), (String ((Ascii (false,
-    true, true, true, false, true, true, false)), (String ((Ascii (false,
-    false, true, false, true, true, true, false)), (String ((Ascii (false,
+    false)), (String ((Ascii (false, false, true, true, false, true, true,
+    false)), (String ((Ascii (true, true, false, true, false, true, true,
+    false)), (String ((Ascii (false, false, true, false, false, false, true,
+    false)), (String ((Ascii (true, false, false, true, false, true, true,
+    false)), (String ((Ascii (false, true, false, false, true, true, true,
+    false)), EmptyString)))))))))))))); s_chan = (String ((Ascii (false,
+    false, true, false, false, true, true, false)), (String ((Ascii (true,
+    false, false, true, false, true, true, false)), (String ((Ascii (true,
     true, false, false, true, true, true, false)), (String ((Ascii (true,
-    false, false, true, true, true, true, false)), (String ((Ascii (false,
-    false, true, false, false, false, true, false)), (String ((Ascii (true,
-    false, true, false, false, true, true, false)), (String ((Ascii (false,
-    false, true, false, true, true, true, false)), (String ((Ascii (true,
-    false, false, false, false, true, true, false)), (String ((Ascii (true,
-    false, false, true, false, true, true, false)), (String ((Ascii (false,
-    false, true, true, false, true, true, false)), (String ((Ascii (true,
-    true, false, false, true, false, true, false)), (String ((Ascii (true,
-    false, true, false, false, true, true, false)), (String ((Ascii (true,
-    false, false, false, true, true, true, false)), (String ((Ascii (true,
-    false, true, false, true, true, true, false)), (String ((Ascii (true,
-    false, true, false, false, true, true, false)), (String ((Ascii (false,
-    true, true, true, false, true, true, false)), (String ((Ascii (true,
     true, false, false, false, true, true, false)), (String ((Ascii (true,
-    false, true, false, false, true, true, false)), (String ((Ascii (false,
-    true, true, true, false, false, true, false)), (String ((Ascii (true,
-    false, true, false, true, true, true, false)), (String ((Ascii (true,
-    false, true, true, false, true, true, false)), (String ((Ascii (false,
-    true, false, false, false, true, true, false)), (String ((Ascii (true,
-    false, true, false, false, true, true, false)), (String ((Ascii (false,
-    true, false, false, true, true, true, false)),
-    EmptyString)))))))))))))))))))))))))))))))))))))))))))))))))), (S (S (S
-    (S (S (S (S O))))))))) :: [])))))); l_cuts =
-    ((mkcut O (S O) EmptyString []) :: ((mkcut (S O) (S (S (S O))) (String
-                                          ((Ascii (false, false, true, false,
-                                          true, false, true, false)), (String
-                                          ((Ascii (true, false, false, true,
-                                          true, true, true, false)), (String
-                                          ((Ascii (false, false, false,
-                                          false, true, true, true, false)),
-                                          (String ((Ascii (true, false, true,
-                                          false, false, true, true, false)),
-                                          (String ((Ascii (true, true, false,
-                                          false, false, false, true, false)),
-                                          (String ((Ascii (true, true, true,
-                                          true, false, true, true, false)),
-                                          (String ((Ascii (false, false,
-                                          true, false, false, true, true,
-                                          false)), (String ((Ascii (true,
-                                          false, true, false, false, true,
-                                          true, false)),
-                                          EmptyString)))))))))))))))) []) :: (
-    (mkcut (S (S (S O))) (S (S (S (S (S (S (S (S (S (S (S (S (S (S (S (S (S
-      (S (S (S (S (S (S (S (S (S (S (S (S (S (S (S (S (S (S (S (S (S
-      O)))))))))))))))))))))))))))))))))))))) (String ((Ascii (true, true,
-      true, true, false, false, true, false)), (String ((Ascii (false, true,
-      false, false, true, true, true, false)), (String ((Ascii (true, false,
-      false, true, false, true, true, false)), (String ((Ascii (true, true,
-      true, false, false, true, true, false)), (String ((Ascii (true, false,
-      false, true, false, true, true, false)), (String ((Ascii (false, true,
-      true, true, false, true, true, false)), (String ((Ascii (true, false,
-      false, false, false, true, true, false)), (String ((Ascii (false,
-      false, true, false, true, true, true, false)), (String ((Ascii (true,
-      true, true, true, false, true, true, false)), (String ((Ascii (false,
-      true, false, false, true, true, true, false)), (String ((Ascii (true,
-      true, false, false, false, false, true, false)), (String ((Ascii (true,
-      false, false, true, false, true, true, false)), (String ((Ascii (false,
-      false, true, false, true, true, true, false)), (String ((Ascii (true,
-      false, false, true, true, true, true, false)), (String ((Ascii (true,
-      true, false, false, true, false, true, false)), (String ((Ascii (false,
-      false, true, false, true, true, true, false)), (String ((Ascii (true,
-      false, false, false, false, true, true, false)), (String ((Ascii
-      (false, false, true, false, true, true, true, false)), (String ((Ascii
-      (true, false, true, false, false, true, true, false)), (String ((Ascii
-      (false, false, false, false, true, false, true, false)), (String
-      ((Ascii (false, true, false, false, true, true, true, false)), (String
-      ((Ascii (true, true, true, true, false, true, true, false)), (String
-      ((Ascii (false, true, true, false, true, true, true, false)), (String
-      ((Ascii (true, false, false, true, false, true, true, false)), (String
-      ((Ascii (false, true, true, true, false, true, true, false)), (String
-      ((Ascii (true, true, false, false, false, true, true, false)), (String
-      ((Ascii (true, false, true, false, false, true, true, false)),
-      EmptyString))))))))))))))))))))))))))))))))))))))))))))))))))))))
-      ((String ((Ascii (true, true, false, false, true, true, true, false)),
-      (String ((Ascii (false, false, true, false, true, true, true, false)),
-      (String ((Ascii (false, true, false, false, true, true, true, false)),
-      (String ((Ascii (true, false, false, true, false, true, true, false)),
-      (String ((Ascii (false, true, true, true, false, true, true, false)),
-      (String ((Ascii (true, true, true, false, false, true, true, false)),
-      (String ((Ascii (true, true, false, false, true, true, true, false)),
-      (String ((Ascii (false, true, true, true, false, true, false, false)),
-      (String ((Ascii (false, false, true, false, true, false, true, false)),
-      (String ((Ascii (false, true, false, false, true, true, true, false)),
-      (String ((Ascii (true, false, false, true, false, true, true, false)),
-      (String ((Ascii (true, false, true, true, false, true, true, false)),
-      (String ((Ascii (true, true, false, false, true, false, true, false)),
-      (String ((Ascii (false, false, false, false, true, true, true, false)),
-      (String ((Ascii (true, false, false, false, false, true, true, false)),
-      (String ((Ascii (true, true, false, false, false, true, true, false)),
-      (String ((Ascii (true, false, true, false, false, true, true, false)),
-      EmptyString)))))))))))))))))))))))))))))))))) :: [])) :: ((mkcut (S (S
-                                                                  (S (S (S (S
-                                                                  (S (S (S (S
-                                                                  (S (S (S (S
-                                                                  (S (S (S (S
-                                                                  (S (S (S (S
-                                                                  (S (S (S (S
-                                                                  (S (S (S (S
-                                                                  (S (S (S (S
-                                                                  (S (S (S (S
-                                                                  O))))))))))))))))))))))))))))))))))))))
-                                                                  (S (S (S (S
-                                                                  (S (S (S (S
-                                                                  (S (S (S (S
-                                                                  (S (S (S (S
-                                                                  (S (S (S (S
-                                                                  (S (S (S (S
-                                                                  (S (S (S (S
-                                                                  (S (S (S (S
-                                                                  (S (S (S (S
-                                                                  (S (S (S (S
-                                                                  (S (S (S (S
-                                                                  (S (S (S (S
-                                                                  (S (S (S (S
-                                                                  (S (S (S (S
-                                                                  (S (S (S (S
-                                                                  (S (S (S (S
-                                                                  (S (S (S (S
-                                                                  (S (S (S (S
-                                                                  (S
-                                                                  O)))))))))))))))))))))))))))))))))))))))))))))))))))))))))))))))))))))))))
-                                                                  (String
-                                                                  ((Ascii
-                                                                  (true,
-                                                                  true, true,
-                                                                  true,
-                                                                  false,
-                                                                  false,
-                                                                  true,
-                                                                  false)),
-                                                                  (String
-                                                                  ((Ascii
-                                                                  (false,
-                                                                  true,
-                                                                  false,
-                                                                  false,
-                                                                  true, true,
-                                                                  true,
-                                                                  false)),
-                                                                  (String
-                                                                  ((Ascii
-                                                                  (true,
-                                                                  false,
-                                                                  false,
-                                                                  true,
-                                                                  false,
-                                                                  true, true,
-                                                                  false)),
-                                                                  (String
-                                                                  ((Ascii
-                                                                  (true,
-                                                                  true, true,
-                                                                  false,
-                                                                  false,
-                                                                  true, true,
-                                                                  false)),
-                                                                  (String
-                                                                  ((Ascii
-                                                                  (true,
-                                                                  false,
-                                                                  false,
-                                                                  true,
-                                                                  false,
-                                                                  true, true,
-                                                                  false)),
-                                                                  (String
-                                                                  ((Ascii
-                                                                  (false,
-                                                                  true, true,
-                                                                  true,
-                                                                  false,
-                                                                  true, true,
-                                                                  false)),
-                                                                  (String
-                                                                  ((Ascii
-                                                                  (true,
-                                                                  false,
-                                                                  false,
-                                                                  false,
-                                                                  false,
-                                                                  true, true,
-                                                                  false)),
-                                                                  (String
-                                                                  ((Ascii
-                                                                  (false,
-                                                                  false,
-                                                                  true,
-                                                                  false,
-                                                                  true, true,
-                                                                  true,
-                                                                  false)),
-                                                                  (String
-                                                                  ((Ascii
-                                                                  (true,
-                                                                  true, true,
-                                                                  true,
-                                                                  false,
-                                                                  true, true,
-                                                                  false)),
-                                                                  (String
-                                                                  ((Ascii
-                                                                  (false,
-                                                                  true,
-                                                                  false,
-                                                                  false,
-                                                                  true, true,
-                                                                  true,
-                                                                  false)),
-                                                                  (String
-                                                                  ((Ascii
-                                                                  (true,
-                                                                  true,
-                                                                  false,
-                                                                  false,
-                                                                  false,
-                                                                  false,
-                                                                  true,
-                                                                  false)),
-                                                                  (String
-                                                                  ((Ascii
-                                                                  (true,
-                                                                  true, true,
-                                                                  true,
-                                                                  false,
-                                                                  true, true,
-                                                                  false)),
-                                                                  (String
-                                                                  ((Ascii
-                                                                  (true,
-                                                                  false,
-                                                                  true,
-                                                                  false,
-                                                                  true, true,
-                                                                  true,
-                                                                  false)),
-                                                                  (String
-                                                                  ((Ascii
-                                                                  (false,
-                                                                  true, true,
-                                                                  true,
-                                                                  false,
-                                                                  true, true,
-                                                                  false)),
-                                                                  (String
-                                                                  ((Ascii
-                                                                  (false,
-                                                                  false,
-                                                                  true,
-                                                                  false,
-                                                                  true, true,
-                                                                  true,
-                                                                  false)),
-                                                                  (String
-                                                                  ((Ascii
-                                                                  (false,
-                                                                  true,
-                                                                  false,
-                                                                  false,
-                                                                  true, true,
-                                                                  true,
-                                                                  false)),
-                                                                  (String
-                                                                  ((Ascii
-                                                                  (true,
-                                                                  false,
-                                                                  false,
-                                                                  true, true,
-                                                                  true, true,
-                                                                  false)),
-                                                                  (String
-                                                                  ((Ascii
-                                                                  (false,
-                                                                  false,
-                                                                  false,
-                                                                  false,
-                                                                  true,
-                                                                  false,
-                                                                  true,
-                                                                  false)),
-                                                                  (String
-                                                                  ((Ascii
-                                                                  (true,
-                                                                  true, true,
-                                                                  true,
-                                                                  false,
-                                                                  true, true,
-                                                                  false)),
-                                                                  (String
-                                                                  ((Ascii
-                                                                  (true,
-                                                                  true,
-                                                                  false,
-                                                                  false,
-                                                                  true, true,
-                                                                  true,
-                                                                  false)),
-                                                                  (String
-                                                                  ((Ascii
-                                                                  (false,
-                                                                  false,
-                                                                  true,
-                                                                  false,
-                                                                  true, true,
-                                                                  true,
-                                                                  false)),
-                                                                  (String
-                                                                  ((Ascii
-                                                                  (true,
-                                                                  false,
-                                                                  false,
-                                                                  false,
-                                                                  false,
-                                                                  true, true,
-                                                                  false)),
-                                                                  (String
-                                                                  ((Ascii
-                                                                  (false,
-                                                                  false,
-                                                                  true, true,
-                                                                  false,
-                                                                  true, true,
-                                                                  false)),
-                                                                  (String
-                                                                  ((Ascii
-                                                                  (true,
-                                                                  true,
-                                                                  false,
-                                                                  false,
-                                                                  false,
-                                                                  false,
-                                                                  true,
-                                                                  false)),
-                                                                  (String
-                                                                  ((Ascii
-                                                                  (true,
-                                                                  true, true,
-                                                                  true,
-                                                                  false,
-                                                                  true, true,
-                                                                  false)),
-                                                                  (String
-                                                                  ((Ascii
-                                                                  (false,
-                                                                  false,
-                                                                  true,
-                                                                  false,
-                                                                  false,
-                                                                  true, true,
-                                                                  false)),
-                                                                  (String
-                                                                  ((Ascii
-                                                                  (true,
-                                                                  false,
-                                                                  true,
-                                                                  false,
-                                                                  false,
-                                                                  true, true,
-                                                                  false)),
-                                                                  EmptyString))))))))))))))))))))))))))))))))))))))))))))))))))))))
-                                                                  ((String
-                                                                  ((Ascii
-                                                                  (true,
-                                                                  true,
-                                                                  false,
-                                                                  false,
-                                                                  true, true,
-                                                                  true,
-                                                                  false)),
-                                                                  (String
-                                                                  ((Ascii
-                                                                  (false,
-                                                                  false,
-                                                                  true,
-                                                                  false,
-                                                                  true, true,
-                                                                  true,
-                                                                  false)),
-                                                                  (String
-                                                                  ((Ascii
-                                                                  (false,
-                                                                  true,
-                                                                  false,
-                                                                  false,
-                                                                  true, true,
-                                                                  true,
-                                                                  false)),
-                                                                  (String
-                                                                  ((Ascii
-                                                                  (true,
-                                                                  false,
-                                                                  false,
-                                                                  true,
-                                                                  false,
-                                                                  true, true,
-                                                                  false)),
-                                                                  (String
-                                                                  ((Ascii
-                                                                  (false,
-                                                                  true, true,
-                                                                  true,
-                                                                  false,
-                                                                  true, true,
-                                                                  false)),
-                                                                  (String
-                                                                  ((Ascii
-                                                                  (true,
-                                                                  true, true,
-                                                                  false,
-                                                                  false,
-                                                                  true, true,
-                                                                  false)),
-                                                                  (String
-                                                                  ((Ascii
-                                                                  (true,
-                                                                  true,
-                                                                  false,
-                                                                  false,
-                                                                  true, true,
-                                                                  true,
-                                                                  false)),
-                                                                  (String
-                                                                  ((Ascii
-                                                                  (false,
-                                                                  true, true,
-                                                                  true,
-                                                                  false,
-                                                                  true,
-                                                                  false,
-                                                                  false)),
-                                                                  (String
-                                                                  ((Ascii
-                                                                  (false,
-                                                                  false,
-                                                                  true,
-                                                                  false,
-                                                                  true,
-                                                                  false,
-                                                                  true,
-                                                                  false)),
-                                                                  (String
-                                                                  ((Ascii
-                                                                  (false,
-                                                                  true,
-                                                                  false,
-                                                                  false,
-                                                                  true, true,
-                                                                  true,
-                                                                  false)),
-                                                                  (String
-                                                                  ((Ascii
-                                                                  (true,
-                                                                  false,
-                                                                  false,
-                                                                  true,
-                                                                  false,
-                                                                  true, true,
-                                                                  false)),
-                                                                  (String
-                                                                  ((Ascii
-                                                                  (true,
-                                                                  false,
-                                                                  true, true,
-                                                                  false,
-                                                                  true, true,
-                                                                  false)),
-                                                                  (String
-                                                                  ((Ascii
-                                                                  (true,
-                                                                  true,
-                                                                  false,
-                                                                  false,
-                                                                  true,
-                                                                  false,
-                                                                  true,
-                                                                  false)),
-                                                                  (String
-                                                                  ((Ascii
-                                                                  (false,
-                                                                  false,
-                                                                  false,
-                                                                  false,
-                                                                  true, true,
-                                                                  true,
-                                                                  false)),
-                                                                  (String
-                                                                  ((Ascii
-                                                                  (true,
-                                                                  false,
-                                                                  false,
-                                                                  false,
-                                                                  false,
-                                                                  true, true,
-                                                                  false)),
-                                                                  (String
-                                                                  ((Ascii
-                                                                  (true,
-                                                                  true,
-                                                                  false,
-                                                                  false,
-                                                                  false,
-                                                                  true, true,
-                                                                  false)),
-                                                                  (String
-                                                                  ((Ascii
-                                                                  (true,
-                                                                  false,
-                                                                  true,
-                                                                  false,
-                                                                  false,
-                                                                  true, true,
-                                                                  false)),
-                                                                  EmptyString)))))))))))))))))))))))))))))))))) :: [])) :: (
-    (mkcut (S (S (S (S (S (S (S (S (S (S (S (S (S (S (S (S (S (S (S (S (S (S
-      (S (S (S (S (S (S (S (S (S (S (S (S (S (S (S (S (S (S (S (S (S (S (S (S
-      (S (S (S (S (S (S (S (S (S (S (S (S (S (S (S (S (S (S (S (S (S (S (S (S
-      (S (S (S
-      O)))))))))))))))))))))))))))))))))))))))))))))))))))))))))))))))))))))))))
-      (S (S (S (S (S (S (S (S (S (S (S (S (S (S (S (S (S (S (S (S (S (S (S (S
-      (S (S (S (S (S (S (S (S (S (S (S (S (S (S (S (S (S (S (S (S (S (S (S (S
-      (S (S (S (S (S (S (S (S (S (S (S (S (S (S (S (S (S (S (S (S (S (S (S (S
-      (S (S (S (S (S (S (S (S (S (S (S (S (S (S (S
-      O)))))))))))))))))))))))))))))))))))))))))))))))))))))))))))))))))))))))))))))))))))))))
-      EmptyString []) :: ((mkcut (S (S (S (S (S (S (S (S (S (S (S (S (S (S (S
-                            (S (S (S (S (S (S (S (S (S (S (S (S (S (S (S (S
-                            (S (S (S (S (S (S (S (S (S (S (S (S (S (S (S (S
-                            (S (S (S (S (S (S (S (S (S (S (S (S (S (S (S (S
-                            (S (S (S (S (S (S (S (S (S (S (S (S (S (S (S (S
-                            (S (S (S (S (S (S (S (S
-                            O)))))))))))))))))))))))))))))))))))))))))))))))))))))))))))))))))))))))))))))))))))))))
-                            (S (S (S (S (S (S (S (S (S (S (S (S (S (S (S (S
-                            (S (S (S (S (S (S (S (S (S (S (S (S (S (S (S (S
-                            (S (S (S (S (S (S (S (S (S (S (S (S (S (S (S (S
-                            (S (S (S (S (S (S (S (S (S (S (S (S (S (S (S (S
-                            (S (S (S (S (S (S (S (S (S (S (S (S (S (S (S (S
-                            (S (S (S (S (S (S (S (S (S (S (S (S (S (S
-                            O))))))))))))))))))))))))))))))))))))))))))))))))))))))))))))))))))))))))))))))))))))))))))))))
-                            (String ((Ascii (true, false, true, false, false,
-                            false, true, false)), (String ((Ascii (false,
-                            true, true, true, false, true, true, false)),
-                            (String ((Ascii (false, false, true, false, true,
-                            true, true, false)), (String ((Ascii (false,
-                            true, false, false, true, true, true, false)),
-                            (String ((Ascii (true, false, false, true, true,
-                            true, true, false)), (String ((Ascii (false,
-                            false, true, false, false, false, true, false)),
-                            (String ((Ascii (true, false, true, false, false,
-                            true, true, false)), (String ((Ascii (false,
-                            false, true, false, true, true, true, false)),
-                            (String ((Ascii (true, false, false, false,
-                            false, true, true, false)), (String ((Ascii
-                            (true, false, false, true, false, true, true,
-                            false)), (String ((Ascii (false, false, true,
-                            true, false, true, true, false)), (String ((Ascii
-                            (true, true, false, false, true, false, true,
-                            false)), (String ((Ascii (true, false, true,
-                            false, false, true, true, false)), (String
-                            ((Ascii (true, false, false, false, true, true,
-                            true, false)), (String ((Ascii (true, false,
-                            true, false, true, true, true, false)), (String
-                            ((Ascii (true, false, true, false, false, true,
-                            true, false)), (String ((Ascii (false, true,
-                            true, true, false, true, true, false)), (String
-                            ((Ascii (true, true, false, false, false, true,
-                            true, false)), (String ((Ascii (true, false,
-                            true, false, false, true, true, false)), (String
-                            ((Ascii (false, true, true, true, false, false,
-                            true, false)), (String ((Ascii (true, false,
-                            true, false, true, true, true, false)), (String
-                            ((Ascii (true, false, true, true, false, true,
-                            true, false)), (String ((Ascii (false, true,
-                            false, false, false, true, true, false)), (String
-                            ((Ascii (true, false, true, false, false, true,
-                            true, false)), (String ((Ascii (false, true,
-                            false, false, true, true, true, false)),
-                            EmptyString))))))))))))))))))))))))))))))))))))))))))))))))))
-                            ((String ((Ascii (false, false, false, false,
-                            true, true, true, false)), (String ((Ascii (true,
-                            false, false, false, false, true, true, false)),
-                            (String ((Ascii (false, true, false, false, true,
-                            true, true, false)), (String ((Ascii (true, true,
-                            false, false, true, true, true, false)), (String
-                            ((Ascii (true, false, true, false, false, true,
-                            true, false)), (String ((Ascii (false, true,
-                            true, true, false, false, true, false)), (String
-                            ((Ascii (true, false, true, false, true, true,
-                            true, false)), (String ((Ascii (true, false,
-                            true, true, false, true, true, false)), (String
-                            ((Ascii (false, true, true, false, false, false,
-                            true, false)), (String ((Ascii (true, false,
-                            false, true, false, true, true, false)), (String
-                            ((Ascii (true, false, true, false, false, true,
-                            true, false)), (String ((Ascii (false, false,
-                            true, true, false, true, true, false)), (String
-                            ((Ascii (false, false, true, false, false, true,
-                            true, false)),
-                            EmptyString)))))))))))))))))))))))))) :: [])) :: [])))))) }
-
-(** val l_Addenda13 : layout **)
-
-let l_Addenda13 =
-  { l_name = (String ((Ascii (true, false, false, false, false, false, true,
-    false)), (String ((Ascii (false, false, true, false, false, true, true,
-    false)), (String ((Ascii (false, false, true, false, false, true, true,
-    false)), (String ((Ascii (true, false, true, false, false, true, true,
-    false)), (String ((Ascii (false, true, true, true, false, true, true,
-    false)), (String ((Ascii (false, false, true, false, false, true, true,
-    false)), (String ((Ascii (true, false, false, false, false, true, true,
-    false)), (String ((Ascii (true, false, false, false, true, true, false,
-    false)), (String ((Ascii (true, true, false, false, true, true, false,
-    false)), EmptyString)))))))))))))))))); l_ix = IRune; l_segs = ((SLit
-    ((Npos (XI (XI (XI (XO (XI XH)))))) :: [])) :: ((SRaw (String ((Ascii
-    (false, false, true, false, true, false, true, false)), (String ((Ascii
-    (true, false, false, true, true, true, true, false)), (String ((Ascii
-    (false, false, false, false, true, true, true, false)), (String ((Ascii
-    (true, false, true, false, false, true, true, false)), (String ((Ascii
-    (true, true, false, false, false, false, true, false)), (String ((Ascii
-    (true, true, true, true, false, true, true, false)), (String ((Ascii
-    (false, false, true, false, false, true, true, false)), (String ((Ascii
-    (true, false, true, false, false, true, true, false)),
-    EmptyString))))))))))))))))) :: ((SAlpha ((String ((Ascii (true, true,
-    true, true, false, false, true, false)), (String ((Ascii (false, false,
-    true, false, false, false, true, false)), (String ((Ascii (false, true,
-    true, false, false, false, true, false)), (String ((Ascii (true, false,
-    false, true, false, false, true, false)), (String ((Ascii (false, true,
-    true, true, false, false, true, false)), (String ((Ascii (true, false,
-    false, false, false, true, true, false)), (String ((Ascii (true, false,
-    true, true, false, true, true, false)), (String ((Ascii (true, false,
-    true, false, false, true, true, false)), EmptyString)))))))))))))))), (S
-    (S (S (S (S (S (S (S (S (S (S (S (S (S (S (S (S (S (S (S (S (S (S (S (S
-    (S (S (S (S (S (S (S (S (S (S
-    O))))))))))))))))))))))))))))))))))))) :: ((SAlpha ((String ((Ascii
-    (true, true, true, true, false, false, true, false)), (String ((Ascii
-    (false, false, true, false, false, false, true, false)), (String ((Ascii
-    (false, true, true, false, false, false, true, false)), (String ((Ascii
-    (true, false, false, true, false, false, true, false)), (String ((Ascii
-    (true, false, false, true, false, false, true, false)), (String ((Ascii
-    (false, false, true, false, false, false, true, false)), (String ((Ascii
-    (false, true, true, true, false, false, true, false)), (String ((Ascii
-    (true, false, true, false, true, true, true, false)), (String ((Ascii
-    (true, false, true, true, false, true, true, false)), (String ((Ascii
-    (false, true, false, false, false, true, true, false)), (String ((Ascii
-    (true, false, true, false, false, true, true, false)), (String ((Ascii
-    (false, true, false, false, true, true, true, false)), (String ((Ascii
-    (true, false, false, false, true, false, true, false)), (String ((Ascii
-    (true, false, true, false, true, true, true, false)), (String ((Ascii
-    (true, false, false, false, false, true, true, false)), (String ((Ascii
-    (false, false, true, true, false, true, true, false)), (String ((Ascii
-    (true, false, false, true, false, true, true, false)), (String ((Ascii
-    (false, true, true, false, false, true, true, false)), (String ((Ascii
-    (true, false, false, true, false, true, true, false)), (String ((Ascii
-    (true, false, true, false, false, true, true, false)), (String ((Ascii
-    (false, true, false, false, true, true, true, false)),
-    EmptyString)))))))))))))))))))))))))))))))))))))))))), (S (S
-    O)))) :: ((SAlpha ((String ((Ascii (true, true, true, true, false, false,
-    true, false)), (String ((Ascii (false, false, true, false, false, false,
-    true, false)), (String ((Ascii (false, true, true, false, false, false,
-    true, false)), (String ((Ascii (true, false, false, true, false, false,
-    true, false)), (String ((Ascii (true, false, false, true, false, false,
-    true, false)), (String ((Ascii (false, false, true, false, false, true,
-    true, false)), (String ((Ascii (true, false, true, false, false, true,
-    true, false)), (String ((Ascii (false, true, true, true, false, true,
-    true, false)), (String ((Ascii (false, false, true, false, true, true,
-    true, false)), (String ((Ascii (true, false, false, true, false, true,
-    true, false)), (String ((Ascii (false, true, true, false, false, true,
-    true, false)), (String ((Ascii (true, false, false, true, false, true,
-    true, false)), (String ((Ascii (true, true, false, false, false, true,
-    true, false)), (String ((Ascii (true, false, false, false, false, true,
-    true, false)), (String ((Ascii (false, false, true, false, true, true,
-    true, false)), (String ((Ascii (true, false, false, true, false, true,
-    true, false)), (String ((Ascii (true, true, true, true, false, true,
-    true, false)), (String ((Ascii (false, true, true, true, false, true,
-    true, false)), EmptyString)))))))))))))))))))))))))))))))))))), (S (S (S
-    (S (S (S (S (S (S (S (S (S (S (S (S (S (S (S (S (S (S (S (S (S (S (S (S
-    (S (S (S (S (S (S (S O)))))))))))))))))))))))))))))))))))) :: ((SAlpha
-    ((String ((Ascii (true, true, true, true, false, false, true, false)),
-    (String ((Ascii (false, false, true, false, false, false, true, false)),
-    (String ((Ascii (false, true, true, false, false, false, true, false)),
-    (String ((Ascii (true, false, false, true, false, false, true, false)),
-    (String ((Ascii (false, true, false, false, false, false, true, false)),
-    (String ((Ascii (false, true, false, false, true, true, true, false)),
-    (String ((Ascii (true, false, false, false, false, true, true, false)),
-    (String ((Ascii (false, true, true, true, false, true, true, false)),
-    (String ((Ascii (true, true, false, false, false, true, true, false)),
-    (String ((Ascii (false, false, false, true, false, true, true, false)),
-    (String ((Ascii (true, true, false, false, false, false, true, false)),
-    (String ((Ascii (true, true, true, true, false, true, true, false)),
-    (String ((Ascii (true, false, true, false, true, true, true, false)),
-    (String ((Ascii (false, true, true, true, false, true, true, false)),
-    (String ((Ascii (false, false, true, false, true, true, true, false)),
-    (String ((Ascii (false, true, false, false, true, true, true, false)),
-    (String ((Ascii (true, false, false, true, true, true, true, false)),
-    (String ((Ascii (true, true, false, false, false, false, true, false)),
-    (String ((Ascii (true, true, true, true, false, true, true, false)),
-    (String ((Ascii (false, false, true, false, false, true, true, false)),
-    (String ((Ascii (true, false, true, false, false, true, true, false)),
-    EmptyString)))))))))))))))))))))))))))))))))))))))))), (S (S (S
-    O))))) :: ((SLit ((Npos (XO (XO (XO (XO (XO XH)))))) :: ((Npos (XO (XO
-    (XO (XO (XO XH)))))) :: ((Npos (XO (XO (XO (XO (XO XH)))))) :: ((Npos (XO
-    (XO (XO (XO (XO XH)))))) :: ((Npos (XO (XO (XO (XO (XO XH)))))) :: ((Npos
-    (XO (XO (XO (XO (XO XH)))))) :: ((Npos (XO (XO (XO (XO (XO
-    XH)))))) :: ((Npos (XO (XO (XO (XO (XO XH)))))) :: ((Npos (XO (XO (XO (XO
-    (XO XH)))))) :: ((Npos (XO (XO (XO (XO (XO
-    XH)))))) :: []))))))))))) :: ((SNum ((String ((Ascii (true, false, true,
-    false, false, false, true, false)), (String ((Ascii (false, true, true,
-    true, false, true, true, false)), (String ((Ascii (false, false, true,
-    false, true, true, true, false)), (String ((Ascii (false, true, false,
-    false, true, true, true, false)), (String ((Ascii (true, false, false,
-    true, true, true, true, false)), (String ((Ascii (false, false, true,
-    false, false, false, true, false)), (String ((Ascii (true, false, true,
-    false, false, true, true, false)), (String ((Ascii (false, false, true,
-    false, true, true, true, false)), (String ((Ascii (true, false, false,
-    false, false, true, true, false)), (String ((Ascii (true, false, false,
-    true, false, true, true, false)), (String ((Ascii (false, false, true,
-    true, false, true, true, false)), (String ((Ascii (true, true, false,
-    false, true, false, true, false)), (String ((Ascii (true, false, true,
-    false, false, true, true, false)), (String ((Ascii (true, false, false,
-    false, true, true, true, false)), (String ((Ascii (true, false, true,
-    false, true, true, true, false)), (String ((Ascii (true, false, true,
-    false, false, true, true, false)), (String ((Ascii (false, true, true,
-    true, false, true, true, false)), (String ((Ascii (true, true, false,
-    false, false, true, true, false)), (String ((Ascii (true, false, true,
-    false, false, true, true, false)), (String ((Ascii (false, true, true,
-    true, false, false, true, false)), (String ((Ascii (true, false, true,
-    false, true, true, true, false)), (String ((Ascii (true, false, true,
-    true, false, true, true, false)), (String ((Ascii (false, true, false,
-    false, false, true, true, false)), (String ((Ascii (true, false, true,
-    false, false, true, true, false)), (String ((Ascii (false, true, false,
-    false, true, true, true, false)),
-    EmptyString)))))))))))))))))))))))))))))))))))))))))))))))))), (S (S (S
-    (S (S (S (S O))))))))) :: [])))))))); l_cuts =
-    ((mkcut O (S O) EmptyString []) :: ((mkcut (S O) (S (S (S O))) (String
-                                          ((Ascii (false, false, true, false,
-                                          true, false, true, false)), (String
-                                          ((Ascii (true, false, false, true,
-                                          true, true, true, false)), (String
-                                          ((Ascii (false, false, false,
-                                          false, true, true, true, false)),
-                                          (String ((Ascii (true, false, true,
-                                          false, false, true, true, false)),
-                                          (String ((Ascii (true, true, false,
-                                          false, false, false, true, false)),
-                                          (String ((Ascii (true, true, true,
-                                          true, false, true, true, false)),
-                                          (String ((Ascii (false, false,
-                                          true, false, false, true, true,
-                                          false)), (String ((Ascii (true,
-                                          false, true, false, false, true,
-                                          true, false)),
-                                          EmptyString)))))))))))))))) []) :: (
-    (mkcut (S (S (S O))) (S (S (S (S (S (S (S (S (S (S (S (S (S (S (S (S (S
-      (S (S (S (S (S (S (S (S (S (S (S (S (S (S (S (S (S (S (S (S (S
-      O)))))))))))))))))))))))))))))))))))))) (String ((Ascii (true, true,
-      true, true, false, false, true, false)), (String ((Ascii (false, false,
-      true, false, false, false, true, false)), (String ((Ascii (false, true,
-      true, false, false, false, true, false)), (String ((Ascii (true, false,
-      false, true, false, false, true, false)), (String ((Ascii (false, true,
-      true, true, false, false, true, false)), (String ((Ascii (true, false,
-      false, false, false, true, true, false)), (String ((Ascii (true, false,
-      true, true, false, true, true, false)), (String ((Ascii (true, false,
-      true, false, false, true, true, false)), EmptyString))))))))))))))))
-      ((String ((Ascii (true, true, false, false, true, true, true, false)),
-      (String ((Ascii (false, false, true, false, true, true, true, false)),
-      (String ((Ascii (false, true, false, false, true, true, true, false)),
-      (String ((Ascii (true, false, false, true, false, true, true, false)),
-      (String ((Ascii (false, true, true, true, false, true, true, false)),
-      (String ((Ascii (true, true, true, false, false, true, true, false)),
-      (String ((Ascii (true, true, false, false, true, true, true, false)),
-      (String ((Ascii (false, true, true, true, false, true, false, false)),
-      (String ((Ascii (false, false, true, false, true, false, true, false)),
-      (String ((Ascii (false, true, false, false, true, true, true, false)),
-      (String ((Ascii (true, false, false, true, false, true, true, false)),
-      (String ((Ascii (true, false, true, true, false, true, true, false)),
-      (String ((Ascii (true, true, false, false, true, false, true, false)),
-      (String ((Ascii (false, false, false, false, true, true, true, false)),
-      (String ((Ascii (true, false, false, false, false, true, true, false)),
-      (String ((Ascii (true, true, false, false, false, true, true, false)),
-      (String ((Ascii (true, false, true, false, false, true, true, false)),
-      EmptyString)))))))))))))))))))))))))))))))))) :: [])) :: ((mkcut (S (S
-                                                                  (S (S (S (S
-                                                                  (S (S (S (S
-                                                                  (S (S (S (S
-                                                                  (S (S (S (S
-                                                                  (S (S (S (S
-                                                                  (S (S (S (S
-                                                                  (S (S (S (S
-                                                                  (S (S (S (S
-                                                                  (S (S (S (S
-                                                                  O))))))))))))))))))))))))))))))))))))))
-                                                                  (S (S (S (S
-                                                                  (S (S (S (S
-                                                                  (S (S (S (S
-                                                                  (S (S (S (S
-                                                                  (S (S (S (S
-                                                                  (S (S (S (S
-                                                                  (S (S (S (S
-                                                                  (S (S (S (S
-                                                                  (S (S (S (S
-                                                                  (S (S (S (S
-                                                                  O))))))))))))))))))))))))))))))))))))))))
-                                                                  (String
-                                                                  ((Ascii
-                                                                  (true,
-                                                                  true, true,
-                                                                  true,
-                                                                  false,
-                                                                  false,
-                                                                  true,
-                                                                  false)),
-                                                                  (String
-                                                                  ((Ascii
-                                                                  (false,
-                                                                  false,
-                                                                  true,
-                                                                  false,
-                                                                  false,
-                                                                  false,
-                                                                  true,
-                                                                  false)),
-                                                                  (String
-                                                                  ((Ascii
-                                                                  (false,
-                                                                  true, true,
-                                                                  false,
-                                                                  false,
-                                                                  false,
-                                                                  true,
-                                                                  false)),
-                                                                  (String
-                                                                  ((Ascii
-                                                                  (true,
-                                                                  false,
-                                                                  false,
-                                                                  true,
-                                                                  false,
-                                                                  false,
-                                                                  true,
-                                                                  false)),
-                                                                  (String
-                                                                  ((Ascii
-                                                                  (true,
-                                                                  false,
-                                                                  false,
-                                                                  true,
-                                                                  false,
-                                                                  false,
-                                                                  true,
-                                                                  false)),
-                                                                  (String
-                                                                  ((Ascii
-                                                                  (false,
-                                                                  false,
-                                                                  true,
-                                                                  false,
-                                                                  false,
-                                                                  false,
-                                                                  true,
-                                                                  false)),
-                                                                  (String
-                                                                  ((Ascii
-                                                                  (false,
-                                                                  true, true,
-                                                                  true,
-                                                                  false,
-                                                                  false,
-                                                                  true,
-                                                                  false)),
-                                                                  (String
-                                                                  ((Ascii
-                                                                  (true,
-                                                                  false,
-                                                                  true,
-                                                                  false,
-                                                                  true, true,
-                                                                  true,
-                                                                  false)),
-                                                                  (String
-                                                                  ((Ascii
-                                                                  (true,
-                                                                  false,
-                                                                  true, true,
-                                                                  false,
-                                                                  true, true,
-                                                                  false)),
-                                                                  (String
-                                                                  ((Ascii
-                                                                  (false,
-                                                                  true,
-                                                                  false,
-                                                                  false,
-                                                                  false,
-                                                                  true, true,
-                                                                  false)),
-                                                                  (String
-                                                                  ((Ascii
-                                                                  (true,
-                                                                  false,
-                                                                  true,
-                                                                  false,
-                                                                  false,
-                                                                  true, true,
-                                                                  false)),
-                                                                  (String
-                                                                  ((Ascii
-                                                                  (false,
-                                                                  true,
-                                                                  false,
-                                                                  false,
-                                                                  true, true,
-                                                                  true,
-                                                                  false)),
-                                                                  (String
-                                                                  ((Ascii
-                                                                  (true,
-                                                                  false,
-                                                                  false,
-                                                                  false,
-                                                                  true,
-                                                                  false,
-                                                                  true,
-                                                                  false)),
-                                                                  (String
-                                                                  ((Ascii
-                                                                  (true,
-                                                                  false,
-                                                                  true,
-                                                                  false,
-                                                                  true, true,
-                                                                  true,
-                                                                  false)),
-                                                                  (String
-                                                                  ((Ascii
-                                                                  (true,
-                                                                  false,
-                                                                  false,
-                                                                  false,
-                                                                  false,
-                                                                  true, true,
-                                                                  false)),
-                                                                  (String
-                                                                  ((Ascii
-                                                                  (false,
-                                                                  false,
-                                                                  true, true,
-                                                                  false,
-                                                                  true, true,
-                                                                  false)),
-                                                                  (String
-                                                                  ((Ascii
-                                                                  (true,
-                                                                  false,
-                                                                  false,
-                                                                  true,
-                                                                  false,
-                                                                  true, true,
-                                                                  false)),
-                                                                  (String
-                                                                  ((Ascii
-                                                                  (false,
-                                                                  true, true,
-                                                                  false,
-                                                                  false,
-                                                                  true, true,
-                                                                  false)),
-                                                                  (String
-                                                                  ((Ascii
-                                                                  (true,
-                                                                  false,
-                                                                  false,
-                                                                  true,
-                                                                  false,
-                                                                  true, true,
-                                                                  false)),
-                                                                  (String
-                                                                  ((Ascii
-                                                                  (true,
-                                                                  false,
-                                                                  true,
-                                                                  false,
-                                                                  false,
-                                                                  true, true,
-                                                                  false)),
-                                                                  (String
-                                                                  ((Ascii
-                                                                  (false,
-                                                                  true,
-                                                                  false,
-                                                                  false,
-                                                                  true, true,
-                                                                  true,
-                                                                  false)),
-                                                                  EmptyString))))))))))))))))))))))))))))))))))))))))))
-                                                                  []) :: (
-    (mkcut (S (S (S (S (S (S (S (S (S (S (S (S (S (S (S (S (S (S (S (S (S (S
-      (S (S (S (S (S (S (S (S (S (S (S (S (S (S (S (S (S (S
-      O)))))))))))))))))))))))))))))))))))))))) (S (S (S (S (S (S (S (S (S (S
-      (S (S (S (S (S (S (S (S (S (S (S (S (S (S (S (S (S (S (S (S (S (S (S (S
-      (S (S (S (S (S (S (S (S (S (S (S (S (S (S (S (S (S (S (S (S (S (S (S (S
-      (S (S (S (S (S (S (S (S (S (S (S (S (S (S (S (S
-      O))))))))))))))))))))))))))))))))))))))))))))))))))))))))))))))))))))))))))
-      (String ((Ascii (true, true, true, true, false, false, true, false)),
-      (String ((Ascii (false, false, true, false, false, false, true,
-      false)), (String ((Ascii (false, true, true, false, false, false, true,
-      false)), (String ((Ascii (true, false, false, true, false, false, true,
-      false)), (String ((Ascii (true, false, false, true, false, false, true,
-      false)), (String ((Ascii (false, false, true, false, false, true, true,
-      false)), (String ((Ascii (true, false, true, false, false, true, true,
-      false)), (String ((Ascii (false, true, true, true, false, true, true,
-      false)), (String ((Ascii (false, false, true, false, true, true, true,
-      false)), (String ((Ascii (true, false, false, true, false, true, true,
-      false)), (String ((Ascii (false, true, true, false, false, true, true,
-      false)), (String ((Ascii (true, false, false, true, false, true, true,
-      false)), (String ((Ascii (true, true, false, false, false, true, true,
-      false)), (String ((Ascii (true, false, false, false, false, true, true,
-      false)), (String ((Ascii (false, false, true, false, true, true, true,
-      false)), (String ((Ascii (true, false, false, true, false, true, true,
-      false)), (String ((Ascii (true, true, true, true, false, true, true,
-      false)), (String ((Ascii (false, true, true, true, false, true, true,
-      false)), EmptyString)))))))))))))))))))))))))))))))))))) ((String
-      ((Ascii (false, false, false, false, true, true, true, false)), (String
-      ((Ascii (true, false, false, false, false, true, true, false)), (String
-      ((Ascii (false, true, false, false, true, true, true, false)), (String
-      ((Ascii (true, true, false, false, true, true, true, false)), (String
-      ((Ascii (true, false, true, false, false, true, true, false)), (String
-      ((Ascii (true, true, false, false, true, false, true, false)), (String
-      ((Ascii (false, false, true, false, true, true, true, false)), (String
-      ((Ascii (false, true, false, false, true, true, true, false)), (String
-      ((Ascii (true, false, false, true, false, true, true, false)), (String
-      ((Ascii (false, true, true, true, false, true, true, false)), (String
-      ((Ascii (true, true, true, false, false, true, true, false)), (String
-      ((Ascii (false, true, true, false, false, false, true, false)), (String
-      ((Ascii (true, false, false, true, false, true, true, false)), (String
-      ((Ascii (true, false, true, false, false, true, true, false)), (String
-      ((Ascii (false, false, true, true, false, true, true, false)), (String
-      ((Ascii (false, false, true, false, false, true, true, false)),
-      EmptyString)))))))))))))))))))))))))))))))) :: [])) :: ((mkcut (S (S (S
-                                                                (S (S (S (S
-                                                                (S (S (S (S
-                                                                (S (S (S (S
-                                                                (S (S (S (S
-                                                                (S (S (S (S
-                                                                (S (S (S (S
-                                                                (S (S (S (S
-                                                                (S (S (S (S
-                                                                (S (S (S (S
-                                                                (S (S (S (S
-                                                                (S (S (S (S
-                                                                (S (S (S (S
-                                                                (S (S (S (S
-                                                                (S (S (S (S
-                                                                (S (S (S (S
-                                                                (S (S (S (S
-                                                                (S (S (S (S
-                                                                (S (S (S
-                                                                O))))))))))))))))))))))))))))))))))))))))))))))))))))))))))))))))))))))))))
-                                                                (S (S (S (S
-                                                                (S (S (S (S
-                                                                (S (S (S (S
-                                                                (S (S (S (S
-                                                                (S (S (S (S
-                                                                (S (S (S (S
-                                                                (S (S (S (S
-                                                                (S (S (S (S
-                                                                (S (S (S (S
-                                                                (S (S (S (S
-                                                                (S (S (S (S
-                                                                (S (S (S (S
-                                                                (S (S (S (S
-                                                                (S (S (S (S
-                                                                (S (S (S (S
-                                                                (S (S (S (S
-                                                                (S (S (S (S
-                                                                (S (S (S (S
-                                                                (S (S (S (S
-                                                                (S
-                                                                O)))))))))))))))))))))))))))))))))))))))))))))))))))))))))))))))))))))))))))))
-                                                                (String
-                                                                ((Ascii
-                                                                (true, true,
-                                                                true, true,
-                                                                false, false,
-                                                                true,
-                                                                false)),
-                                                                (String
-                                                                ((Ascii
-                                                                (false,
-                                                                false, true,
-                                                                false, false,
-                                                                false, true,
-                                                                false)),
-                                                                (String
-                                                                ((Ascii
-                                                                (false, true,
-                                                                true, false,
-                                                                false, false,
-                                                                true,
-                                                                false)),
-                                                                (String
-                                                                ((Ascii
-                                                                (true, false,
-                                                                false, true,
-                                                                false, false,
-                                                                true,
-                                                                false)),
-                                                                (String
-                                                                ((Ascii
-                                                                (false, true,
-                                                                false, false,
-                                                                false, false,
-                                                                true,
-                                                                false)),
-                                                                (String
-                                                                ((Ascii
-                                                                (false, true,
-                                                                false, false,
-                                                                true, true,
-                                                                true,
-                                                                false)),
-                                                                (String
-                                                                ((Ascii
-                                                                (true, false,
-                                                                false, false,
-                                                                false, true,
-                                                                true,
-                                                                false)),
-                                                                (String
-                                                                ((Ascii
-                                                                (false, true,
-                                                                true, true,
-                                                                false, true,
-                                                                true,
-                                                                false)),
-                                                                (String
-                                                                ((Ascii
-                                                                (true, true,
-                                                                false, false,
-                                                                false, true,
-                                                                true,
-                                                                false)),
-                                                                (String
-                                                                ((Ascii
-                                                                (false,
-                                                                false, false,
-                                                                true, false,
-                                                                true, true,
-                                                                false)),
-                                                                (String
-                                                                ((Ascii
-                                                                (true, true,
-                                                                false, false,
-                                                                false, false,
-                                                                true,
-                                                                false)),
-                                                                (String
-                                                                ((Ascii
-                                                                (true, true,
-                                                                true, true,
-                                                                false, true,
-                                                                true,
-                                                                false)),
-                                                                (String
-                                                                ((Ascii
-                                                                (true, false,
-                                                                true, false,
-                                                                true, true,
-                                                                true,
-                                                                false)),
-                                                                (String
-                                                                ((Ascii
-                                                                (false, true,
-                                                                true, true,
-                                                                false, true,
-                                                                true,
-                                                                false)),
-                                                                (String
-                                                                ((Ascii
-                                                                (false,
-                                                                false, true,
-                                                                false, true,
-                                                                true, true,
-                                                                false)),
-                                                                (String
-                                                                ((Ascii
-                                                                (false, true,
-                                                                false, false,
-                                                                true, true,
-                                                                true,
-                                                                false)),
-                                                                (String
-                                                                ((Ascii
-                                                                (true, false,
-                                                                false, true,
-                                                                true, true,
-                                                                true,
-                                                                false)),
-                                                                (String
-                                                                ((Ascii
-                                                                (true, true,
-                                                                false, false,
-                                                                false, false,
-                                                                true,
-                                                                false)),
-                                                                (String
-                                                                ((Ascii
-                                                                (true, true,
-                                                                true, true,
-                                                                false, true,
-                                                                true,
-                                                                false)),
-                                                                (String
-                                                                ((Ascii
-                                                                (false,
-                                                                false, true,
-                                                                false, false,
-                                                                true, true,
-                                                                false)),
-                                                                (String
-                                                                ((Ascii
-                                                                (true, false,
-                                                                true, false,
-                                                                false, true,
-                                                                true,
-                                                                false)),
-                                                                EmptyString))))))))))))))))))))))))))))))))))))))))))
-                                                                ((String
-                                                                ((Ascii
-                                                                (true, true,
-                                                                false, false,
-                                                                true, true,
-                                                                true,
-                                                                false)),
-                                                                (String
-                                                                ((Ascii
-                                                                (false,
-                                                                false, true,
-                                                                false, true,
-                                                                true, true,
-                                                                false)),
-                                                                (String
-                                                                ((Ascii
-                                                                (false, true,
-                                                                false, false,
-                                                                true, true,
-                                                                true,
-                                                                false)),
-                                                                (String
-                                                                ((Ascii
-                                                                (true, false,
-                                                                false, true,
-                                                                false, true,
-                                                                true,
-                                                                false)),
-                                                                (String
-                                                                ((Ascii
-                                                                (false, true,
-                                                                true, true,
-                                                                false, true,
-                                                                true,
-                                                                false)),
-                                                                (String
-                                                                ((Ascii
-                                                                (true, true,
-                                                                true, false,
-                                                                false, true,
-                                                                true,
-                                                                false)),
-                                                                (String
-                                                                ((Ascii
-                                                                (true, true,
-                                                                false, false,
-                                                                true, true,
-                                                                true,
-                                                                false)),
-                                                                (String
-                                                                ((Ascii
-                                                                (false, true,
-                                                                true, true,
-                                                                false, true,
-                                                                false,
-                                                                false)),
-                                                                (String
-                                                                ((Ascii
-                                                                (false,
-                                                                false, true,
-                                                                false, true,
-                                                                false, true,
-                                                                false)),
-                                                                (String
-                                                                ((Ascii
-                                                                (false, true,
-                                                                false, false,
-                                                                true, true,
-                                                                true,
-                                                                false)),
-                                                                (String
-                                                                ((Ascii
-                                                                (true, false,
-                                                                false, true,
-                                                                false, true,
-                                                                true,
-                                                                false)),
-                                                                (String
-                                                                ((Ascii
-                                                                (true, false,
-                                                                true, true,
-                                                                false, true,
-                                                                true,
-                                                                false)),
-                                                                (String
-                                                                ((Ascii
-                                                                (true, true,
-                                                                false, false,
-                                                                true, false,
-                                                                true,
-                                                                false)),
-                                                                (String
-                                                                ((Ascii
-                                                                (false,
-                                                                false, false,
-                                                                false, true,
-                                                                true, true,
-                                                                false)),
-                                                                (String
-                                                                ((Ascii
-                                                                (true, false,
-                                                                false, false,
-                                                                false, true,
-                                                                true,
-                                                                false)),
-                                                                (String
-                                                                ((Ascii
-                                                                (true, true,
-                                                                false, false,
-                                                                false, true,
-                                                                true,
-                                                                false)),
-                                                                (String
-                                                                ((Ascii
-                                                                (true, false,
-                                                                true, false,
-                                                                false, true,
-                                                                true,
-                                                                false)),
-                                                                EmptyString)))))))))))))))))))))))))))))))))) :: [])) :: (
-    (mkcut (S (S (S (S (S (S (S (S (S (S (S (S (S (S (S (S (S (S (S (S (S (S
-      (S (S (S (S (S (S (S (S (S (S (S (S (S (S (S (S (S (S (S (S (S (S (S (S
-      (S (S (S (S (S (S (S (S (S (S (S (S (S (S (S (S (S (S (S (S (S (S (S (S
-      (S (S (S (S (S (S (S
-      O)))))))))))))))))))))))))))))))))))))))))))))))))))))))))))))))))))))))))))))
-      (S (S (S (S (S (S (S (S (S (S (S (S (S (S (S (S (S (S (S (S (S (S (S (S
-      (S (S (S (S (S (S (S (S (S (S (S (S (S (S (S (S (S (S (S (S (S (S (S (S
-      (S (S (S (S (S (S (S (S (S (S (S (S (S (S (S (S (S (S (S (S (S (S (S (S
-      (S (S (S (S (S (S (S (S (S (S (S (S (S (S (S
-      O)))))))))))))))))))))))))))))))))))))))))))))))))))))))))))))))))))))))))))))))))))))))
-      EmptyString []) :: ((mkcut (S (S (S (S (S (S (S (S (S (S (S (S (S (S (S
-                            (S (S (S (S (S (S (S (S (S (S (S (S (S (S (S (S
-                            (S (S (S (S (S (S (S (S (S (S (S (S (S (S (S (S
-                            (S (S (S (S (S (S (S (S (S (S (S (S (S (S (S (S
-                            (S (S (S (S (S (S (S (S (S (S (S (S (S (S (S (S
-                            (S (S (S (S (S (S (S (S
-                            O)))))))))))))))))))))))))))))))))))))))))))))))))))))))))))))))))))))))))))))))))))))))
-                            (S (S (S (S (S (S (S (S (S (S (S (S (S (S (S (S
-                            (S (S (S (S (S (S (S (S (S (S (S (S (S (S (S (S
-                            (S (S (S (S (S (S (S (S (S (S (S (S (S (S (S (S
-                            (S (S (S (S (S (S (S (S (S (S (S (S (S (S (S (S
-                            (S (S (S (S (S (S (S (S (S (S (S (S (S (S (S (S
-                            (S (S (S (S (S (S (S (S (S (S (S (S (S (S
-                            O))))))))))))))))))))))))))))))))))))))))))))))))))))))))))))))))))))))))))))))))))))))))))))))
-                            (String ((Ascii (true, false, true, false, false,
-                            false, true, false)), (String ((Ascii (false,
-                            true, true, true, false, true, true, false)),
-                            (String ((Ascii (false, false, true, false, true,
-                            true, true, false)), (String ((Ascii (false,
-                            true, false, false, true, true, true, false)),
-                            (String ((Ascii (true, false, false, true, true,
-                            true, true, false)), (String ((Ascii (false,
-                            false, true, false, false, false, true, false)),
-                            (String ((Ascii (true, false, true, false, false,
-                            true, true, false)), (String ((Ascii (false,
-                            false, true, false, true, true, true, false)),
-                            (String ((Ascii (true, false, false, false,
-                            false, true, true, false)), (String ((Ascii
-                            (true, false, false, true, false, true, true,
-                            false)), (String ((Ascii (false, false, true,
-                            true, false, true, true, false)), (String ((Ascii
-                            (true, true, false, false, true, false, true,
-                            false)), (String ((Ascii (true, false, true,
-                            false, false, true, true, false)), (String
-                            ((Ascii (true, false, false, false, true, true,
-                            true, false)), (String ((Ascii (true, false,
-                            true, false, true, true, true, false)), (String
-                            ((Ascii (true, false, true, false, false, true,
-                            true, false)), (String ((Ascii (false, true,
-                            true, true, false, true, true, false)), (String
-                            ((Ascii (true, true, false, false, false, true,
-                            true, false)), (String ((Ascii (true, false,
-                            true, false, false, true, true, false)), (String
-                            ((Ascii (false, true, true, true, false, false,
-                            true, false)), (String ((Ascii (true, false,
-                            true, false, true, true, true, false)), (String
-                            ((Ascii (true, false, true, true, false, true,
-                            true, false)), (String ((Ascii (false, true,
-                            false, false, false, true, true, false)), (String
-                            ((Ascii (true, false, true, false, false, true,
-                            true, false)), (String ((Ascii (false, true,
-                            false, false, true, true, true, false)),
-                            EmptyString))))))))))))))))))))))))))))))))))))))))))))))))))
-                            ((String ((Ascii (false, false, false, false,
-                            true, true, true, false)), (String ((Ascii (true,
-                            false, false, false, false, true, true, false)),
-                            (String ((Ascii (false, true, false, false, true,
-                            true, true, false)), (String ((Ascii (true, true,
-                            false, false, true, true, true, false)), (String
-                            ((Ascii (true, false, true, false, false, true,
-                            true, false)), (String ((Ascii (false, true,
-                            true, true, false, false, true, false)), (String
-                            ((Ascii (true, false, true, false, true, true,
-                            true, false)), (String ((Ascii (true, false,
-                            true, true, false, true, true, false)), (String
-                            ((Ascii (false, true, true, false, false, false,
-                            true, false)), (String ((Ascii (true, false,
-                            false, true, false, true, true, false)), (String
-                            ((Ascii (true, false, true, false, false, true,
-                            true, false)), (String ((Ascii (false, false,
-                            true, true, false, true, true, false)), (String
-                            ((Ascii (false, false, true, false, false, true,
-                            true, false)),
-                            EmptyString)))))))))))))))))))))))))) :: [])) :: [])))))))) }
-
-(** val l_Addenda14 : layout **)
-
-let l_Addenda14 =
-  { l_name = (String ((Ascii (true, false, false, false, false, false, true,
-    false)), (String ((Ascii (false, false, true, false, false, true, true,
-    false)), (String ((Ascii (false, false, true, false, false, true, true,
-    false)), (String ((Ascii (true, false, true, false, false, true, true,
-    false)), (String ((Ascii (false, true, true, true, false, true, true,
-    false)), (String ((Ascii (false, false, true, false, false, true, true,
-    false)), (String ((Ascii (true, false, false, false, false, true, true,
-    false)), (String ((Ascii (true, false, false, false, true, true, false,
-    false)), (String ((Ascii (false, false, true, false, true, true, false,
-    false)), EmptyString)))))))))))))))))); l_ix = IRune; l_segs = ((SLit
-    ((Npos (XI (XI (XI (XO (XI XH)))))) :: [])) :: ((SRaw (String ((Ascii
-    (false, false, true, false, true, false, true, false)), (String ((Ascii
-    (true, false, false, true, true, true, true, false)), (String ((Ascii
-    (false, false, false, false, true, true, true, false)), (String ((Ascii
-    (true, false, true, false, false, true, true, false)), (String ((Ascii
-    (true, true, false, false, false, false, true, false)), (String ((Ascii
-    (true, true, true, true, false, true, true, false)), (String ((Ascii
-    (false, false, true, false, false, true, true, false)), (String ((Ascii
-    (true, false, true, false, false, true, true, false)),
-    EmptyString))))))))))))))))) :: ((SAlpha ((String ((Ascii (false, true,
-    false, false, true, false, true, false)), (String ((Ascii (false, false,
-    true, false, false, false, true, false)), (String ((Ascii (false, true,
-    true, false, false, false, true, false)), (String ((Ascii (true, false,
-    false, true, false, false, true, false)), (String ((Ascii (false, true,
-    true, true, false, false, true, false)), (String ((Ascii (true, false,
-    false, false, false, true, true, false)), (String ((Ascii (true, false,
-    true, true, false, true, true, false)), (String ((Ascii (true, false,
-    true, false, false, true, true, false)), EmptyString)))))))))))))))), (S
-    (S (S (S (S (S (S (S (S (S (S (S (S (S (S (S (S (S (S (S (S (S (S (S (S
-    (S (S (S (S (S (S (S (S (S (S
-    O))))))))))))))))))))))))))))))))))))) :: ((SAlpha ((String ((Ascii
-    (false, true, false, false, true, false, true, false)), (String ((Ascii
-    (false, false, true, false, false, false, true, false)), (String ((Ascii
-    (false, true, true, false, false, false, true, false)), (String ((Ascii
-    (true, false, false, true, false, false, true, false)), (String ((Ascii
-    (true, false, false, true, false, false, true, false)), (String ((Ascii
-    (false, false, true, false, false, false, true, false)), (String ((Ascii
-    (false, true, true, true, false, false, true, false)), (String ((Ascii
-    (true, false, true, false, true, true, true, false)), (String ((Ascii
-    (true, false, true, true, false, true, true, false)), (String ((Ascii
-    (false, true, false, false, false, true, true, false)), (String ((Ascii
-    (true, false, true, false, false, true, true, false)), (String ((Ascii
-    (false, true, false, false, true, true, true, false)), (String ((Ascii
-    (true, false, false, false, true, false, true, false)), (String ((Ascii
-    (true, false, true, false, true, true, true, false)), (String ((Ascii
-    (true, false, false, false, false, true, true, false)), (String ((Ascii
-    (false, false, true, true, false, true, true, false)), (String ((Ascii
-    (true, false, false, true, false, true, true, false)), (String ((Ascii
-    (false, true, true, false, false, true, true, false)), (String ((Ascii
-    (true, false, false, true, false, true, true, false)), (String ((Ascii
-    (true, false, true, false, false, true, true, false)), (String ((Ascii
-    (false, true, false, false, true, true, true, false)),
-    EmptyString)))))))))))))))))))))))))))))))))))))))))), (S (S
-    O)))) :: ((SAlpha ((String ((Ascii (false, true, false, false, true,
-    false, true, false)), (String ((Ascii (false, false, true, false, false,
-    false, true, false)), (String ((Ascii (false, true, true, false, false,
-    false, true, false)), (String ((Ascii (true, false, false, true, false,
-    false, true, false)), (String ((Ascii (true, false, false, true, false,
-    false, true, false)), (String ((Ascii (false, false, true, false, false,
-    true, true, false)), (String ((Ascii (true, false, true, false, false,
-    true, true, false)), (String ((Ascii (false, true, true, true, false,
-    true, true, false)), (String ((Ascii (false, false, true, false, true,
-    true, true, false)), (String ((Ascii (true, false, false, true, false,
-    true, true, false)), (String ((Ascii (false, true, true, false, false,
-    true, true, false)), (String ((Ascii (true, false, false, true, false,
-    true, true, false)), (String ((Ascii (true, true, false, false, false,
-    true, true, false)), (String ((Ascii (true, false, false, false, false,
-    true, true, false)), (String ((Ascii (false, false, true, false, true,
-    true, true, false)), (String ((Ascii (true, false, false, true, false,
-    true, true, false)), (String ((Ascii (true, true, true, true, false,
-    true, true, false)), (String ((Ascii (false, true, true, true, false,
-    true, true, false)), EmptyString)))))))))))))))))))))))))))))))))))), (S
-    (S (S (S (S (S (S (S (S (S (S (S (S (S (S (S (S (S (S (S (S (S (S (S (S
-    (S (S (S (S (S (S (S (S (S
-    O)))))))))))))))))))))))))))))))))))) :: ((SAlpha ((String ((Ascii
-    (false, true, false, false, true, false, true, false)), (String ((Ascii
-    (false, false, true, false, false, false, true, false)), (String ((Ascii
-    (false, true, true, false, false, false, true, false)), (String ((Ascii
-    (true, false, false, true, false, false, true, false)), (String ((Ascii
-    (false, true, false, false, false, false, true, false)), (String ((Ascii
-    (false, true, false, false, true, true, true, false)), (String ((Ascii
-    (true, false, false, false, false, true, true, false)), (String ((Ascii
-    (false, true, true, true, false, true, true, false)), (String ((Ascii
-    (true, true, false, false, false, true, true, false)), (String ((Ascii
-    (false, false, false, true, false, true, true, false)), (String ((Ascii
-    (true, true, false, false, false, false, true, false)), (String ((Ascii
-    (true, true, true, true, false, true, true, false)), (String ((Ascii
-    (true, false, true, false, true, true, true, false)), (String ((Ascii
-    (false, true, true, true, false, true, true, false)), (String ((Ascii
-    (false, false, true, false, true, true, true, false)), (String ((Ascii
-    (false, true, false, false, true, true, true, false)), (String ((Ascii
-    (true, false, false, true, true, true, true, false)), (String ((Ascii
-    (true, true, false, false, false, false, true, false)), (String ((Ascii
-    (true, true, true, true, false, true, true, false)), (String ((Ascii
-    (false, false, true, false, false, true, true, false)), (String ((Ascii
-    (true, false, true, false, false, true, true, false)),
-    EmptyString)))))))))))))))))))))))))))))))))))))))))), (S (S (S
-    O))))) :: ((SLit ((Npos (XO (XO (XO (XO (XO XH)))))) :: ((Npos (XO (XO
-    (XO (XO (XO XH)))))) :: ((Npos (XO (XO (XO (XO (XO XH)))))) :: ((Npos (XO
-    (XO (XO (XO (XO XH)))))) :: ((Npos (XO (XO (XO (XO (XO XH)))))) :: ((Npos
-    (XO (XO (XO (XO (XO XH)))))) :: ((Npos (XO (XO (XO (XO (XO
-    XH)))))) :: ((Npos (XO (XO (XO (XO (XO XH)))))) :: ((Npos (XO (XO (XO (XO
-    (XO XH)))))) :: ((Npos (XO (XO (XO (XO (XO
-    XH)))))) :: []))))))))))) :: ((SNum ((String ((Ascii (true, false, true,
-    false, false, false, true, false)), (String ((Ascii (false, true, true,
-    true, false, true, true, false)), (String ((Ascii (false, false, true,
-    false, true, true, true, false)), (String ((Ascii (false, true, false,
-    false, true, true, true, false)), (String ((Ascii (true, false, false,
-    true, true, true, true, false)), (String ((Ascii (false, false, true,
-    false, false, false, true, false)), (String ((Ascii (true, false, true,
-    false, false, true, true, false)), (String ((Ascii (false, false, true,
-    false, true, true, true, false)), (String ((Ascii (true, false, false,
-    false, false, true, true, false)), (String ((Ascii (true, false, false,
-    true, false, true, true, false)), (String ((Ascii (false, false, true,
-    true, false, true, true, false)), (String ((Ascii (true, true, false,
-    false, true, false, true, false)), (String ((Ascii (true, false, true,
-    false, false, true, true, false)), (String ((Ascii (true, false, false,
-    false, true, true, true, false)), (String ((Ascii (true, false, true,
-    false, true, true, true, false)), (String ((Ascii (true, false, true,
-    false, false, true, true, false)), (String ((Ascii (false, true, true,
-    true, false, true, true, false)), (String ((Ascii (true, true, false,
-    false, false, true, true, false)), (String ((Ascii (true, false, true,
-    false, false, true, true, false)), (String ((Ascii (false, true, true,
-    true, false, false, true, false)), (String ((Ascii (true, false, true,
-    false, true, true, true, false)), (String ((Ascii (true, false, true,
-    true, false, true, true, false)), (String ((Ascii (false, true, false,
-    false, false, true, true, false)), (String ((Ascii (true, false, true,
-    false, false, true, true, false)), (String ((Ascii (false, true, false,
-    false, true, true, true, false)),
-    EmptyString)))))))))))))))))))))))))))))))))))))))))))))))))), (S (S (S
-    (S (S (S (S O))))))))) :: [])))))))); l_cuts =
-    ((mkcut O (S O) EmptyString []) :: ((mkcut (S O) (S (S (S O))) (String
-                                          ((Ascii (false, false, true, false,
-                                          true, false, true, false)), (String
-                                          ((Ascii (true, false, false, true,
-                                          true, true, true, false)), (String
-                                          ((Ascii (false, false, false,
-                                          false, true, true, true, false)),
-                                          (String ((Ascii (true, false, true,
-                                          false, false, true, true, false)),
-                                          (String ((Ascii (true, true, false,
-                                          false, false, false, true, false)),
-                                          (String ((Ascii (true, true, true,
-                                          true, false, true, true, false)),
-                                          (String ((Ascii (false, false,
-                                          true, false, false, true, true,
-                                          false)), (String ((Ascii (true,
-                                          false, true, false, false, true,
-                                          true, false)),
-                                          EmptyString)))))))))))))))) []) :: (
-    (mkcut (S (S (S O))) (S (S (S (S (S (S (S (S (S (S (S (S (S (S (S (S (S
-      (S (S (S (S (S (S (S (S (S (S (S (S (S (S (S (S (S (S (S (S (S
-      O)))))))))))))))))))))))))))))))))))))) (String ((Ascii (false, true,
-      false, false, true, false, true, false)), (String ((Ascii (false,
-      false, true, false, false, false, true, false)), (String ((Ascii
-      (false, true, true, false, false, false, true, false)), (String ((Ascii
-      (true, false, false, true, false, false, true, false)), (String ((Ascii
-      (false, true, true, true, false, false, true, false)), (String ((Ascii
-      (true, false, false, false, false, true, true, false)), (String ((Ascii
-      (true, false, true, true, false, true, true, false)), (String ((Ascii
-      (true, false, true, false, false, true, true, false)),
-      EmptyString)))))))))))))))) ((String ((Ascii (true, true, false, false,
-      true, true, true, false)), (String ((Ascii (false, false, true, false,
-      true, true, true, false)), (String ((Ascii (false, true, false, false,
-      true, true, true, false)), (String ((Ascii (true, false, false, true,
-      false, true, true, false)), (String ((Ascii (false, true, true, true,
-      false, true, true, false)), (String ((Ascii (true, true, true, false,
-      false, true, true, false)), (String ((Ascii (true, true, false, false,
-      true, true, true, false)), (String ((Ascii (false, true, true, true,
-      false, true, false, false)), (String ((Ascii (false, false, true,
-      false, true, false, true, false)), (String ((Ascii (false, true, false,
-      false, true, true, true, false)), (String ((Ascii (true, false, false,
-      true, false, true, true, false)), (String ((Ascii (true, false, true,
-      true, false, true, true, false)), (String ((Ascii (true, true, false,
-      false, true, false, true, false)), (String ((Ascii (false, false,
-      false, false, true, true, true, false)), (String ((Ascii (true, false,
-      false, false, false, true, true, false)), (String ((Ascii (true, true,
-      false, false, false, true, true, false)), (String ((Ascii (true, false,
-      true, false, false, true, true, false)),
-      EmptyString)))))))))))))))))))))))))))))))))) :: [])) :: ((mkcut (S (S
-                                                                  (S (S (S (S
-                                                                  (S (S (S (S
-                                                                  (S (S (S (S
-                                                                  (S (S (S (S
-                                                                  (S (S (S (S
-                                                                  (S (S (S (S
-                                                                  (S (S (S (S
-                                                                  (S (S (S (S
-                                                                  (S (S (S (S
-                                                                  O))))))))))))))))))))))))))))))))))))))
-                                                                  (S (S (S (S
-                                                                  (S (S (S (S
-                                                                  (S (S (S (S
-                                                                  (S (S (S (S
-                                                                  (S (S (S (S
-                                                                  (S (S (S (S
-                                                                  (S (S (S (S
-                                                                  (S (S (S (S
-                                                                  (S (S (S (S
-                                                                  (S (S (S (S
-                                                                  O))))))))))))))))))))))))))))))))))))))))
-                                                                  (String
-                                                                  ((Ascii
-                                                                  (false,
-                                                                  true,
-                                                                  false,
-                                                                  false,
-                                                                  true,
-                                                                  false,
-                                                                  true,
-                                                                  false)),
-                                                                  (String
-                                                                  ((Ascii
-                                                                  (false,
-                                                                  false,
-                                                                  true,
-                                                                  false,
-                                                                  false,
-                                                                  false,
-                                                                  true,
-                                                                  false)),
-                                                                  (String
-                                                                  ((Ascii
-                                                                  (false,
-                                                                  true, true,
-                                                                  false,
-                                                                  false,
-                                                                  false,
-                                                                  true,
-                                                                  false)),
-                                                                  (String
-                                                                  ((Ascii
-                                                                  (true,
-                                                                  false,
-                                                                  false,
-                                                                  true,
-                                                                  false,
-                                                                  false,
-                                                                  true,
-                                                                  false)),
-                                                                  (String
-                                                                  ((Ascii
-                                                                  (true,
-                                                                  false,
-                                                                  false,
-                                                                  true,
-                                                                  false,
-                                                                  false,
-                                                                  true,
-                                                                  false)),
-                                                                  (String
-                                                                  ((Ascii
-                                                                  (false,
-                                                                  false,
-                                                                  true,
-                                                                  false,
-                                                                  false,
-                                                                  false,
-                                                                  true,
-                                                                  false)),
-                                                                  (String
-                                                                  ((Ascii
-                                                                  (false,
-                                                                  true, true,
-                                                                  true,
-                                                                  false,
-                                                                  false,
-                                                                  true,
-                                                                  false)),
-                                                                  (String
-                                                                  ((Ascii
-                                                                  (true,
-                                                                  false,
-                                                                  true,
-                                                                  false,
-                                                                  true, true,
-                                                                  true,
-                                                                  false)),
-                                                                  (String
-                                                                  ((Ascii
-                                                                  (true,
-                                                                  false,
-                                                                  true, true,
-                                                                  false,
-                                                                  true, true,
-                                                                  false)),
-                                                                  (String
-                                                                  ((Ascii
-                                                                  (false,
-                                                                  true,
-                                                                  false,
-                                                                  false,
-                                                                  false,
-                                                                  true, true,
-                                                                  false)),
-                                                                  (String
-                                                                  ((Ascii
-                                                                  (true,
-                                                                  false,
-                                                                  true,
-                                                                  false,
-                                                                  false,
-                                                                  true, true,
-                                                                  false)),
-                                                                  (String
-                                                                  ((Ascii
-                                                                  (false,
-                                                                  true,
-                                                                  false,
-                                                                  false,
-                                                                  true, true,
-                                                                  true,
-                                                                  false)),
-                                                                  (String
-                                                                  ((Ascii
-                                                                  (true,
-                                                                  false,
-                                                                  false,
-                                                                  false,
-                                                                  true,
-                                                                  false,
-                                                                  true,
-                                                                  false)),
-                                                                  (String
-                                                                  ((Ascii
-                                                                  (true,
-                                                                  false,
-                                                                  true,
-                                                                  false,
-                                                                  true, true,
-                                                                  true,
-                                                                  false)),
-                                                                  (String
-                                                                  ((Ascii
-                                                                  (true,
-                                                                  false,
-                                                                  false,
-                                                                  false,
-                                                                  false,
-                                                                  true, true,
-                                                                  false)),
-                                                                  (String
-                                                                  ((Ascii
-                                                                  (false,
-                                                                  false,
-                                                                  true, true,
-                                                                  false,
-                                                                  true, true,
-                                                                  false)),
-                                                                  (String
-                                                                  ((Ascii
-                                                                  (true,
-                                                                  false,
-                                                                  false,
-                                                                  true,
-                                                                  false,
-                                                                  true, true,
-                                                                  false)),
-                                                                  (String
-                                                                  ((Ascii
-                                                                  (false,
-                                                                  true, true,
-                                                                  false,
-                                                                  false,
-                                                                  true, true,
-                                                                  false)),
-                                                                  (String
-                                                                  ((Ascii
-                                                                  (true,
-                                                                  false,
-                                                                  false,
-                                                                  true,
-                                                                  false,
-                                                                  true, true,
-                                                                  false)),
-                                                                  (String
-                                                                  ((Ascii
-                                                                  (true,
-                                                                  false,
-                                                                  true,
-                                                                  false,
-                                                                  false,
-                                                                  true, true,
-                                                                  false)),
-                                                                  (String
-                                                                  ((Ascii
-                                                                  (false,
-                                                                  true,
-                                                                  false,
-                                                                  false,
-                                                                  true, true,
-                                                                  true,
-                                                                  false)),
-                                                                  EmptyString))))))))))))))))))))))))))))))))))))))))))
-                                                                  []) :: (
-    (mkcut (S (S (S (S (S (S (S (S (S (S (S (S (S (S (S (S (S (S (S (S (S (S
-      (S (S (S (S (S (S (S (S (S (S (S (S (S (S (S (S (S (S
-      O)))))))))))))))))))))))))))))))))))))))) (S (S (S (S (S (S (S (S (S (S
-      (S (S (S (S (S (S (S (S (S (S (S (S (S (S (S (S (S (S (S (S (S (S (S (S
-      (S (S (S (S (S (S (S (S (S (S (S (S (S (S (S (S (S (S (S (S (S (S (S (S
-      (S (S (S (S (S (S (S (S (S (S (S (S (S (S (S (S
-      O))))))))))))))))))))))))))))))))))))))))))))))))))))))))))))))))))))))))))
-      (String ((Ascii (false, true, false, false, true, false, true, false)),
-      (String ((Ascii (false, false, true, false, false, false, true,
-      false)), (String ((Ascii (false, true, true, false, false, false, true,
-      false)), (String ((Ascii (true, false, false, true, false, false, true,
-      false)), (String ((Ascii (true, false, false, true, false, false, true,
-      false)), (String ((Ascii (false, false, true, false, false, true, true,
-      false)), (String ((Ascii (true, false, true, false, false, true, true,
-      false)), (String ((Ascii (false, true, true, true, false, true, true,
-      false)), (String ((Ascii (false, false, true, false, true, true, true,
-      false)), (String ((Ascii (true, false, false, true, false, true, true,
-      false)), (String ((Ascii (false, true, true, false, false, true, true,
-      false)), (String ((Ascii (true, false, false, true, false, true, true,
-      false)), (String ((Ascii (true, true, false, false, false, true, true,
-      false)), (String ((Ascii (true, false, false, false, false, true, true,
-      false)), (String ((Ascii (false, false, true, false, true, true, true,
-      false)), (String ((Ascii (true, false, false, true, false, true, true,
-      false)), (String ((Ascii (true, true, true, true, false, true, true,
-      false)), (String ((Ascii (false, true, true, true, false, true, true,
-      false)), EmptyString)))))))))))))))))))))))))))))))))))) ((String
-      ((Ascii (false, false, false, false, true, true, true, false)), (String
-      ((Ascii (true, false, false, false, false, true, true, false)), (String
-      ((Ascii (false, true, false, false, true, true, true, false)), (String
-      ((Ascii (true, true, false, false, true, true, true, false)), (String
-      ((Ascii (true, false, true, false, false, true, true, false)), (String
-      ((Ascii (true, true, false, false, true, false, true, false)), (String
-      ((Ascii (false, false, true, false, true, true, true, false)), (String
-      ((Ascii (false, true, false, false, true, true, true, false)), (String
-      ((Ascii (true, false, false, true, false, true, true, false)), (String
-      ((Ascii (false, true, true, true, false, true, true, false)), (String
-      ((Ascii (true, true, true, false, false, true, true, false)), (String
-      ((Ascii (false, true, true, false, false, false, true, false)), (String
-      ((Ascii (true, false, false, true, false, true, true, false)), (String
-      ((Ascii (true, false, true, false, false, true, true, false)), (String
-      ((Ascii (false, false, true, true, false, true, true, false)), (String
-      ((Ascii (false, false, true, false, false, true, true, false)),
-      EmptyString)))))))))))))))))))))))))))))))) :: [])) :: ((mkcut (S (S (S
-                                                                (S (S (S (S
-                                                                (S (S (S (S
-                                                                (S (S (S (S
-                                                                (S (S (S (S
-                                                                (S (S (S (S
-                                                                (S (S (S (S
-                                                                (S (S (S (S
-                                                                (S (S (S (S
-                                                                (S (S (S (S
-                                                                (S (S (S (S
-                                                                (S (S (S (S
-                                                                (S (S (S (S
-                                                                (S (S (S (S
-                                                                (S (S (S (S
-                                                                (S (S (S (S
-                                                                (S (S (S (S
-                                                                (S (S (S (S
-                                                                (S (S (S
-                                                                O))))))))))))))))))))))))))))))))))))))))))))))))))))))))))))))))))))))))))
-                                                                (S (S (S (S
-                                                                (S (S (S (S
-                                                                (S (S (S (S
-                                                                (S (S (S (S
-                                                                (S (S (S (S
-                                                                (S (S (S (S
-                                                                (S (S (S (S
-                                                                (S (S (S (S
-                                                                (S (S (S (S
-                                                                (S (S (S (S
-                                                                (S (S (S (S
-                                                                (S (S (S (S
-                                                                (S (S (S (S
-                                                                (S (S (S (S
-                                                                (S (S (S (S
-                                                                (S (S (S (S
-                                                                (S (S (S (S
-                                                                (S (S (S (S
-                                                                (S (S (S (S
-                                                                (S
-                                                                O)))))))))))))))))))))))))))))))))))))))))))))))))))))))))))))))))))))))))))))
-                                                                (String
-                                                                ((Ascii
-                                                                (false, true,
-                                                                false, false,
-                                                                true, false,
-                                                                true,
-                                                                false)),
-                                                                (String
-                                                                ((Ascii
-                                                                (false,
-                                                                false, true,
-                                                                false, false,
-                                                                false, true,
-                                                                false)),
-                                                                (String
-                                                                ((Ascii
-                                                                (false, true,
-                                                                true, false,
-                                                                false, false,
-                                                                true,
-                                                                false)),
-                                                                (String
-                                                                ((Ascii
-                                                                (true, false,
-                                                                false, true,
-                                                                false, false,
-                                                                true,
-                                                                false)),
-                                                                (String
-                                                                ((Ascii
-                                                                (false, true,
-                                                                false, false,
-                                                                false, false,
-                                                                true,
-                                                                false)),
-                                                                (String
-                                                                ((Ascii
-                                                                (false, true,
-                                                                false, false,
-                                                                true, true,
-                                                                true,
-                                                                false)),
-                                                                (String
-                                                                ((Ascii
-                                                                (true, false,
-                                                                false, false,
-                                                                false, true,
-                                                                true,
-                                                                false)),
-                                                                (String
-                                                                ((Ascii
-                                                                (false, true,
-                                                                true, true,
-                                                                false, true,
-                                                                true,
-                                                                false)),
-                                                                (String
-                                                                ((Ascii
-                                                                (true, true,
-                                                                false, false,
-                                                                false, true,
-                                                                true,
-                                                                false)),
-                                                                (String
-                                                                ((Ascii
-                                                                (false,
-                                                                false, false,
-                                                                true, false,
-                                                                true, true,
-                                                                false)),
-                                                                (String
-                                                                ((Ascii
-                                                                (true, true,
-                                                                false, false,
-                                                                false, false,
-                                                                true,
-                                                                false)),
-                                                                (String
-                                                                ((Ascii
-                                                                (true, true,
-                                                                true, true,
-                                                                false, true,
-                                                                true,
-                                                                false)),
-                                                                (String
-                                                                ((Ascii
-                                                                (true, false,
-                                                                true, false,
-                                                                true, true,
-                                                                true,
-                                                                false)),
-                                                                (String
-                                                                ((Ascii
-                                                                (false, true,
-                                                                true, true,
-                                                                false, true,
-                                                                true,
-                                                                false)),
-                                                                (String
-                                                                ((Ascii
-                                                                (false,
-                                                                false, true,
-                                                                false, true,
-                                                                true, true,
-                                                                false)),
-                                                                (String
-                                                                ((Ascii
-                                                                (false, true,
-                                                                false, false,
-                                                                true, true,
-                                                                true,
-                                                                false)),
-                                                                (String
-                                                                ((Ascii
-                                                                (true, false,
-                                                                false, true,
-                                                                true, true,
-                                                                true,
-                                                                false)),
-                                                                (String
-                                                                ((Ascii
-                                                                (true, true,
-                                                                false, false,
-                                                                false, false,
-                                                                true,
-                                                                false)),
-                                                                (String
-                                                                ((Ascii
-                                                                (true, true,
-                                                                true, true,
-                                                                false, true,
-                                                                true,
-                                                                false)),
-                                                                (String
-                                                                ((Ascii
-                                                                (false,
-                                                                false, true,
-                                                                false, false,
-                                                                true, true,
-                                                                false)),
-                                                                (String
-                                                                ((Ascii
-                                                                (true, false,
-                                                                true, false,
-                                                                false, true,
-                                                                true,
-                                                                false)),
-                                                                EmptyString))))))))))))))))))))))))))))))))))))))))))
-                                                                ((String
-                                                                ((Ascii
-                                                                (true, true,
-                                                                false, false,
-                                                                true, true,
-                                                                true,
-                                                                false)),
-                                                                (String
-                                                                ((Ascii
-                                                                (false,
-                                                                false, true,
-                                                                false, true,
-                                                                true, true,
-                                                                false)),
-                                                                (String
-                                                                ((Ascii
-                                                                (false, true,
-                                                                false, false,
-                                                                true, true,
-                                                                true,
-                                                                false)),
-                                                                (String
-                                                                ((Ascii
-                                                                (true, false,
-                                                                false, true,
-                                                                false, true,
-                                                                true,
-                                                                false)),
-                                                                (String
-                                                                ((Ascii
-                                                                (false, true,
-                                                                true, true,
-                                                                false, true,
-                                                                true,
-                                                                false)),
-                                                                (String
-                                                                ((Ascii
-                                                                (true, true,
-                                                                true, false,
-                                                                false, true,
-                                                                true,
-                                                                false)),
-                                                                (String
-                                                                ((Ascii
-                                                                (true, true,
-                                                                false, false,
-                                                                true, true,
-                                                                true,
-                                                                false)),
-                                                                (String
-                                                                ((Ascii
-                                                                (false, true,
-                                                                true, true,
-                                                                false, true,
-                                                                false,
-                                                                false)),
-                                                                (String
-                                                                ((Ascii
-                                                                (false,
-                                                                false, true,
-                                                                false, true,
-                                                                false, true,
-                                                                false)),
-                                                                (String
-                                                                ((Ascii
-                                                                (false, true,
-                                                                false, false,
-                                                                true, true,
-                                                                true,
-                                                                false)),
-                                                                (String
-                                                                ((Ascii
-                                                                (true, false,
-                                                                false, true,
-                                                                false, true,
-                                                                true,
-                                                                false)),
-                                                                (String
-                                                                ((Ascii
-                                                                (true, false,
-                                                                true, true,
-                                                                false, true,
-                                                                true,
-                                                                false)),
-                                                                (String
-                                                                ((Ascii
-                                                                (true, true,
-                                                                false, false,
-                                                                true, false,
-                                                                true,
-                                                                false)),
-                                                                (String
-                                                                ((Ascii
-                                                                (false,
-                                                                false, false,
-                                                                false, true,
-                                                                true, true,
-                                                                false)),
-                                                                (String
-                                                                ((Ascii
-                                                                (true, false,
-                                                                false, false,
-                                                                false, true,
-                                                                true,
-                                                                false)),
-                                                                (String
-                                                                ((Ascii
-                                                                (true, true,
-                                                                false, false,
-                                                                false, true,
-                                                                true,
-                                                                false)),
-                                                                (String
-                                                                ((Ascii
-                                                                (true, false,
-                                                                true, false,
-                                                                false, true,
-                                                                true,
-                                                                false)),
-                                                                EmptyString)))))))))))))))))))))))))))))))))) :: [])) :: (
-    (mkcut (S (S (S (S (S (S (S (S (S (S (S (S (S (S (S (S (S (S (S (S (S (S
-      (S (S (S (S (S (S (S (S (S (S (S (S (S (S (S (S (S (S (S (S (S (S (S (S
-      (S (S (S (S (S (S (S (S (S (S (S (S (S (S (S (S (S (S (S (S (S (S (S (S
-      (S (S (S (S (S (S (S
-      O)))))))))))))))))))))))))))))))))))))))))))))))))))))))))))))))))))))))))))))
-      (S (S (S (S (S (S (S (S (S (S (S (S (S (S (S (S (S (S (S (S (S (S (S (S
-      (S (S (S (S (S (S (S (S (S (S (S (S (S (S (S (S (S (S (S (S (S (S (S (S
-      (S (S (S (S (S (S (S (S (S (S (S (S (S (S (S (S (S (S (S (S (S (S (S (S
-      (S (S (S (S (S (S (S (S (S (S (S (S (S (S (S
-      O)))))))))))))))))))))))))))))))))))))))))))))))))))))))))))))))))))))))))))))))))))))))
-      EmptyString []) :: ((mkcut (S (S (S (S (S (S (S (S (S (S (S (S (S (S (S
-                            (S (S (S (S (S (S (S (S (S (S (S (S (S (S (S (S
-                            (S (S (S (S (S (S (S (S (S (S (S (S (S (S (S (S
-                            (S (S (S (S (S (S (S (S (S (S (S (S (S (S (S (S
-                            (S (S (S (S (S (S (S (S (S (S (S (S (S (S (S (S
-                            (S (S (S (S (S (S (S (S
-                            O)))))))))))))))))))))))))))))))))))))))))))))))))))))))))))))))))))))))))))))))))))))))
-                            (S (S (S (S (S (S (S (S (S (S (S (S (S (S (S (S
-                            (S (S (S (S (S (S (S (S (S (S (S (S (S (S (S (S
-                            (S (S (S (S (S (S (S (S (S (S (S (S (S (S (S (S
-                            (S (S (S (S (S (S (S (S (S (S (S (S (S (S (S (S
-                            (S (S (S (S (S (S (S (S (S (S (S (S (S (S (S (S
-                            (S (S (S (S (S (S (S (S (S (S (S (S (S (S
-                            O))))))))))))))))))))))))))))))))))))))))))))))))))))))))))))))))))))))))))))))))))))))))))))))
-                            (String ((Ascii (true, false, true, false, false,
-                            false, true, false)), (String ((Ascii (false,
-                            true, true, true, false, true, true, false)),
-                            (String ((Ascii (false, false, true, false, true,
-                            true, true, false)), (String ((Ascii (false,
-                            true, false, false, true, true, true, false)),
-                            (String ((Ascii (true, false, false, true, true,
-                            true, true, false)), (String ((Ascii (false,
-                            false, true, false, false, false, true, false)),
-                            (String ((Ascii (true, false, true, false, false,
-                            true, true, false)), (String ((Ascii (false,
-                            false, true, false, true, true, true, false)),
-                            (String ((Ascii (true, false, false, false,
-                            false, true, true, false)), (String ((Ascii
-                            (true, false, false, true, false, true, true,
-                            false)), (String ((Ascii (false, false, true,
-                            true, false, true, true, false)), (String ((Ascii
-                            (true, true, false, false, true, false, true,
-                            false)), (String ((Ascii (true, false, true,
-                            false, false, true, true, false)), (String
-                            ((Ascii (true, false, false, false, true, true,
-                            true, false)), (String ((Ascii (true, false,
-                            true, false, true, true, true, false)), (String
-                            ((Ascii (true, false, true, false, false, true,
-                            true, false)), (String ((Ascii (false, true,
-                            true, true, false, true, true, false)), (String
-                            ((Ascii (true, true, false, false, false, true,
-                            true, false)), (String ((Ascii (true, false,
-                            true, false, false, true, true, false)), (String
-                            ((Ascii (false, true, true, true, false, false,
-                            true, false)), (String ((Ascii (true, false,
-                            true, false, true, true, true, false)), (String
-                            ((Ascii (true, false, true, true, false, true,
-                            true, false)), (String ((Ascii (false, true,
-                            false, false, false, true, true, false)), (String
-                            ((Ascii (true, false, true, false, false, true,
-                            true, false)), (String ((Ascii (false, true,
-                            false, false, true, true, true, false)),
-                            EmptyString))))))))))))))))))))))))))))))))))))))))))))))))))
-                            ((String ((Ascii (false, false, false, false,
-                            true, true, true, false)), (String ((Ascii (true,
-                            false, false, false, false, true, true, false)),
-                            (String ((Ascii (false, true, false, false, true,
-                            true, true, false)), (String ((Ascii (true, true,
-                            false, false, true, true, true, false)), (String
-                            ((Ascii (true, false, true, false, false, true,
-                            true, false)), (String ((Ascii (false, true,
-                            true, true, false, false, true, false)), (String
-                            ((Ascii (true, false, true, false, true, true,
-                            true, false)), (String ((Ascii (true, false,
-                            true, true, false, true, true, false)), (String
-                            ((Ascii (false, true, true, false, false, false,
-                            true, false)), (String ((Ascii (true, false,
-                            false, true, false, true, true, false)), (String
-                            ((Ascii (true, false, true, false, false, true,
-                            true, false)), (String ((Ascii (false, false,
-                            true, true, false, true, true, false)), (String
-                            ((Ascii (false, false, true, false, false, true,
-                            true, false)),
-                            EmptyString)))))))))))))))))))))))))) :: [])) :: [])))))))) }
-
-(** val l_Addenda15 : layout **)
-
-let l_Addenda15 =
-  { l_name = (String ((Ascii (true, false, false, false, false, false, true,
-    false)), (String ((Ascii (false, false, true, false, false, true, true,
-    false)), (String ((Ascii (false, false, true, false, false, true, true,
-    false)), (String ((Ascii (true, false, true, false, false, true, true,
-    false)), (String ((Ascii (false, true, true, true, false, true, true,
-    false)), (String ((Ascii (false, false, true, false, false, true, true,
-    false)), (String ((Ascii (true, false, false, false, false, true, true,
-    false)), (String ((Ascii (true, false, false, false, true, true, false,
-    false)), (String ((Ascii (true, false, true, false, true, true, false,
-    false)), EmptyString)))))))))))))))))); l_ix = IRune; l_segs = ((SLit
-    ((Npos (XI (XI (XI (XO (XI XH)))))) :: [])) :: ((SRaw (String ((Ascii
-    (false, false, true, false, true, false, true, false)), (String ((Ascii
-    (true, false, false, true, true, true, true, false)), (String ((Ascii
-    (false, false, false, false, true, true, true, false)), (String ((Ascii
-    (true, false, true, false, false, true, true, false)), (String ((Ascii
-    (true, true, false, false, false, false, true, false)), (String ((Ascii
-    (true, true, true, true, false, true, true, false)), (String ((Ascii
-    (false, false, true, false, false, true, true, false)), (String ((Ascii
-    (true, false, true, false, false, true, true, false)),
-    EmptyString))))))))))))))))) :: ((SAlpha ((String ((Ascii (false, true,
-    false, false, true, false, true, false)), (String ((Ascii (true, false,
-    true, false, false, true, true, false)), (String ((Ascii (true, true,
-    false, false, false, true, true, false)), (String ((Ascii (true, false,
-    true, false, false, true, true, false)), (String ((Ascii (true, false,
-    false, true, false, true, true, false)), (String ((Ascii (false, true,
-    true, false, true, true, true, false)), (String ((Ascii (true, false,
-    true, false, false, true, true, false)), (String ((Ascii (false, true,
-    false, false, true, true, true, false)), (String ((Ascii (true, false,
-    false, true, false, false, true, false)), (String ((Ascii (false, false,
-    true, false, false, false, true, false)), (String ((Ascii (false, true,
-    true, true, false, false, true, false)), (String ((Ascii (true, false,
-    true, false, true, true, true, false)), (String ((Ascii (true, false,
-    true, true, false, true, true, false)), (String ((Ascii (false, true,
-    false, false, false, true, true, false)), (String ((Ascii (true, false,
-    true, false, false, true, true, false)), (String ((Ascii (false, true,
-    false, false, true, true, true, false)),
-    EmptyString)))))))))))))))))))))))))))))))), (S (S (S (S (S (S (S (S (S
-    (S (S (S (S (S (S O))))))))))))))))) :: ((SAlpha ((String ((Ascii (false,
-    true, false, false, true, false, true, false)), (String ((Ascii (true,
-    false, true, false, false, true, true, false)), (String ((Ascii (true,
-    true, false, false, false, true, true, false)), (String ((Ascii (true,
-    false, true, false, false, true, true, false)), (String ((Ascii (true,
-    false, false, true, false, true, true, false)), (String ((Ascii (false,
+    true, true, true, false, true, true, false)), (String ((Ascii (false,
     true, true, false, true, true, true, false)), (String ((Ascii (true,
     false, true, false, false, true, true, false)), (String ((Ascii (false,
     true, false, false, true, true, true, false)), (String ((Ascii (true,
-    true, false, false, true, false, true, false)), (String ((Ascii (false,
+    false, true, false, false, true, true, false)), (String ((Ascii (false,
+    false, true, false, false, true, true, false)), (String ((Ascii (false,
+    false, false, false, true, false, true, false)), (String ((Ascii (true,
+    false, false, false, false, true, true, false)), (String ((Ascii (false,
     false, true, false, true, true, true, false)), (String ((Ascii (false,
-    true, false, false, true, true, true, false)), (String ((Ascii (true,
-    false, true, false, false, true, true, false)), (String ((Ascii (true,
-    false, true, false, false, true, true, false)), (String ((Ascii (false,
-    false, true, false, true, true, true, false)), (String ((Ascii (true,
-    false, false, false, false, false, true, false)), (String ((Ascii (false,
-    false, true, false, false, true, true, false)), (String ((Ascii (false,
-    false, true, false, false, true, true, false)), (String ((Ascii (false,
-    true, false, false, true, true, true, false)), (String ((Ascii (true,
-    false, true, false, false, true, true, false)), (String ((Ascii (true,
-    true, false, false, true, true, true, false)), (String ((Ascii (true,
+    false, false, true, false, true, true, false)), (String ((Ascii (true,
     true, false, false, true, true, true, false)),
-    EmptyString)))))))))))))))))))))))))))))))))))))))))), (S (S (S (S (S (S
-    (S (S (S (S (S (S (S (S (S (S (S (S (S (S (S (S (S (S (S (S (S (S (S (S
-    (S (S (S (S (S O))))))))))))))))))))))))))))))))))))) :: ((SLit ((Npos
-    (XO (XO (XO (XO (XO XH)))))) :: ((Npos (XO (XO (XO (XO (XO
-    XH)))))) :: ((Npos (XO (XO (XO (XO (XO XH)))))) :: ((Npos (XO (XO (XO (XO
-    (XO XH)))))) :: ((Npos (XO (XO (XO (XO (XO XH)))))) :: ((Npos (XO (XO (XO
-    (XO (XO XH)))))) :: ((Npos (XO (XO (XO (XO (XO XH)))))) :: ((Npos (XO (XO
-    (XO (XO (XO XH)))))) :: ((Npos (XO (XO (XO (XO (XO XH)))))) :: ((Npos (XO
-    (XO (XO (XO (XO XH)))))) :: ((Npos (XO (XO (XO (XO (XO XH)))))) :: ((Npos
-    (XO (XO (XO (XO (XO XH)))))) :: ((Npos (XO (XO (XO (XO (XO
-    XH)))))) :: ((Npos (XO (XO (XO (XO (XO XH)))))) :: ((Npos (XO (XO (XO (XO
-    (XO XH)))))) :: ((Npos (XO (XO (XO (XO (XO XH)))))) :: ((Npos (XO (XO (XO
-    (XO (XO XH)))))) :: ((Npos (XO (XO (XO (XO (XO XH)))))) :: ((Npos (XO (XO
-    (XO (XO (XO XH)))))) :: ((Npos (XO (XO (XO (XO (XO XH)))))) :: ((Npos (XO
-    (XO (XO (XO (XO XH)))))) :: ((Npos (XO (XO (XO (XO (XO XH)))))) :: ((Npos
-    (XO (XO (XO (XO (XO XH)))))) :: ((Npos (XO (XO (XO (XO (XO
-    XH)))))) :: ((Npos (XO (XO (XO (XO (XO XH)))))) :: ((Npos (XO (XO (XO (XO
-    (XO XH)))))) :: ((Npos (XO (XO (XO (XO (XO XH)))))) :: ((Npos (XO (XO (XO
-    (XO (XO XH)))))) :: ((Npos (XO (XO (XO (XO (XO XH)))))) :: ((Npos (XO (XO
-    (XO (XO (XO XH)))))) :: ((Npos (XO (XO (XO (XO (XO XH)))))) :: ((Npos (XO
-    (XO (XO (XO (XO XH)))))) :: ((Npos (XO (XO (XO (XO (XO XH)))))) :: ((Npos
-    (XO (XO (XO (XO (XO
-    XH)))))) :: []))))))))))))))))))))))))))))))))))) :: ((SNum ((String
-    ((Ascii (true, false, true, false, false, false, true, false)), (String
-    ((Ascii (false, true, true, true, false, true, true, false)), (String
-    ((Ascii (false, false, true, false, true, true, true, false)), (String
-    ((Ascii (false, true, false, false, true, true, true, false)), (String
-    ((Ascii (true, false, false, true, true, true, true, false)), (String
-    ((Ascii (false, false, true, false, false, false, true, false)), (String
-    ((Ascii (true, false, true, false, false, true, true, false)), (String
-    ((Ascii (false, false, true, false, true, true, true, false)), (String
-    ((Ascii (true, false, false, false, false, true, true, false)), (String
-    ((Ascii (true, false, false, true, false, true, true, false)), (String
-    ((Ascii (false, false, true, true, false, true, true, false)), (String
-    ((Ascii (true, true, false, false, true, false, true, false)), (String
-    ((Ascii (true, false, true, false, false, true, true, false)), (String
-    ((Ascii (true, false, false, false, true, true, true, false)), (String
-    ((Ascii (true, false, true, false, true, true, true, false)), (String
-    ((Ascii (true, false, true, false, false, true, true, false)), (String
-    ((Ascii (false, true, true, true, false, true, true, false)), (String
-    ((Ascii (true, true, false, false, false, true, true, false)), (String
-    ((Ascii (true, false, true, false, false, true, true, false)), (String
-    ((Ascii (false, true, true, true, false, false, true, false)), (String
-    ((Ascii (true, false, true, false, true, true, true, false)), (String
-    ((Ascii (true, false, true, true, false, true, true, false)), (String
-    ((Ascii (false, true, false, false, false, true, true, false)), (String
-    ((Ascii (true, false, true, false, false, true, true, false)), (String
-    ((Ascii (false, true, false, false, true, true, true, false)),
-    EmptyString)))))))))))))))))))))))))))))))))))))))))))))))))), (S (S (S
-    (S (S (S (S O))))))))) :: [])))))); l_cuts =
-    ((mkcut O (S O) EmptyString []) :: ((mkcut (S O) (S (S (S O))) (String
-                                          ((Ascii (false, false, true, false,
-                                          true, false, true, false)), (String
-                                          ((Ascii (true, false, false, true,
-                                          true, true, true, false)), (String
-                                          ((Ascii (false, false, false,
-                                          false, true, true, true, false)),
-                                          (String ((Ascii (true, false, true,
-                                          false, false, true, true, false)),
-                                          (String ((Ascii (true, true, false,
-                                          false, false, false, true, false)),
-                                          (String ((Ascii (true, true, true,
-                                          true, false, true, true, false)),
-                                          (String ((Ascii (false, false,
-                                          true, false, false, true, true,
-                                          false)), (String ((Ascii (true,
-                                          false, true, false, false, true,
-                                          true, false)),
-                                          EmptyString)))))))))))))))) []) :: (
-    (mkcut (S (S (S O))) (S (S (S (S (S (S (S (S (S (S (S (S (S (S (S (S (S
-      (S O)))))))))))))))))) (String ((Ascii (false, true, false, false,
-      true, false, true, false)), (String ((Ascii (true, false, true, false,
-      false, true, true, false)), (String ((Ascii (true, true, false, false,
-      false, true, true, false)), (String ((Ascii (true, false, true, false,
-      false, true, true, false)), (String ((Ascii (true, false, false, true,
-      false, true, true, false)), (String ((Ascii (false, true, true, false,
-      true, true, true, false)), (String ((Ascii (true, false, true, false,
-      false, true, true, false)), (String ((Ascii (false, true, false, false,
-      true, true, true, false)), (String ((Ascii (true, false, false, true,
-      false, false, true, false)), (String ((Ascii (false, false, true,
-      false, false, false, true, false)), (String ((Ascii (false, true, true,
-      true, false, false, true, false)), (String ((Ascii (true, false, true,
-      false, true, true, true, false)), (String ((Ascii (true, false, true,
-      true, false, true, true, false)), (String ((Ascii (false, true, false,
-      false, false, true, true, false)), (String ((Ascii (true, false, true,
-      false, false, true, true, false)), (String ((Ascii (false, true, false,
-      false, true, true, true, false)),
-      EmptyString)))))))))))))))))))))))))))))))) ((String ((Ascii (false,
-      false, false, false, true, true, true, false)), (String ((Ascii (true,
-      false, false, false, false, true, true, false)), (String ((Ascii
-      (false, true, false, false, true, true, true, false)), (String ((Ascii
-      (true, true, false, false, true, true, true, false)), (String ((Ascii
-      (true, false, true, false, false, true, true, false)), (String ((Ascii
-      (true, true, false, false, true, false, true, false)), (String ((Ascii
-      (false, false, true, false, true, true, true, false)), (String ((Ascii
-      (false, true, false, false, true, true, true, false)), (String ((Ascii
-      (true, false, false, true, false, true, true, false)), (String ((Ascii
-      (false, true, true, true, false, true, true, false)), (String ((Ascii
-      (true, true, true, false, false, true, true, false)), (String ((Ascii
-      (false, true, true, false, false, false, true, false)), (String ((Ascii
-      (true, false, false, true, false, true, true, false)), (String ((Ascii
-      (true, false, true, false, false, true, true, false)), (String ((Ascii
-      (false, false, true, true, false, true, true, false)), (String ((Ascii
-      (false, false, true, false, false, true, true, false)),
-      EmptyString)))))))))))))))))))))))))))))))) :: [])) :: ((mkcut (S (S (S
-                                                                (S (S (S (S
-                                                                (S (S (S (S
-                                                                (S (S (S (S
-                                                                (S (S (S
-                                                                O))))))))))))))))))
-                                                                (S (S (S (S
-                                                                (S (S (S (S
-                                                                (S (S (S (S
-                                                                (S (S (S (S
-                                                                (S (S (S (S
-                                                                (S (S (S (S
-                                                                (S (S (S (S
-                                                                (S (S (S (S
-                                                                (S (S (S (S
-                                                                (S (S (S (S
-                                                                (S (S (S (S
-                                                                (S (S (S (S
-                                                                (S (S (S (S
-                                                                (S
-                                                                O)))))))))))))))))))))))))))))))))))))))))))))))))))))
-                                                                (String
-                                                                ((Ascii
-                                                                (false, true,
-                                                                false, false,
-                                                                true, false,
-                                                                true,
-                                                                false)),
-                                                                (String
-                                                                ((Ascii
-                                                                (true, false,
-                                                                true, false,
-                                                                false, true,
-                                                                true,
-                                                                false)),
-                                                                (String
-                                                                ((Ascii
-                                                                (true, true,
-                                                                false, false,
-                                                                false, true,
-                                                                true,
-                                                                false)),
-                                                                (String
-                                                                ((Ascii
-                                                                (true, false,
-                                                                true, false,
-                                                                false, true,
-                                                                true,
-                                                                false)),
-                                                                (String
-                                                                ((Ascii
-                                                                (true, false,
-                                                                false, true,
-                                                                false, true,
-                                                                true,
-                                                                false)),
-                                                                (String
-                                                                ((Ascii
-                                                                (false, true,
-                                                                true, false,
-                                                                true, true,
-                                                                true,
-                                                                false)),
-                                                                (String
-                                                                ((Ascii
-                                                                (true, false,
-                                                                true, false,
-                                                                false, true,
-                                                                true,
-                                                                false)),
-                                                                (String
-                                                                ((Ascii
-                                                                (false, true,
-                                                                false, false,
-                                                                true, true,
-                                                                true,
-                                                                false)),
-                                                                (String
-                                                                ((Ascii
-                                                                (true, true,
-                                                                false, false,
-                                                                true, false,
-                                                                true,
-                                                                false)),
-                                                                (String
-                                                                ((Ascii
-                                                                (false,
-                                                                false, true,
-                                                                false, true,
-                                                                true, true,
-                                                                false)),
-                                                                (String
-                                                                ((Ascii
-                                                                (false, true,
-                                                                false, false,
-                                                                true, true,
-                                                                true,
-                                                                false)),
-                                                                (String
-                                                                ((Ascii
-                                                                (true, false,
-                                                                true, false,
-                                                                false, true,
-                                                                true,
-                                                                false)),
-                                                                (String
-                                                                ((Ascii
-                                                                (true, false,
-                                                                true, false,
-                                                                false, true,
-                                                                true,
-                                                                false)),
-                                                                (String
-                                                                ((Ascii
-                                                                (false,
-                                                                false, true,
-                                                                false, true,
-                                                                true, true,
-                                                                false)),
-                                                                (String
-                                                                ((Ascii
-                                                                (true, false,
-                                                                false, false,
-                                                                false, false,
-                                                                true,
-                                                                false)),
-                                                                (String
-                                                                ((Ascii
-                                                                (false,
-                                                                false, true,
-                                                                false, false,
-                                                                true, true,
-                                                                false)),
-                                                                (String
-                                                                ((Ascii
-                                                                (false,
-                                                                false, true,
-                                                                false, false,
-                                                                true, true,
-                                                                false)),
-                                                                (String
-                                                                ((Ascii
-                                                                (false, true,
-                                                                false, false,
-                                                                true, true,
-                                                                true,
-                                                                false)),
-                                                                (String
-                                                                ((Ascii
-                                                                (true, false,
-                                                                true, false,
-                                                                false, true,
-                                                                true,
-                                                                false)),
-                                                                (String
-                                                                ((Ascii
-                                                                (true, true,
-                                                                false, false,
-                                                                true, true,
-                                                                true,
-                                                                false)),
-                                                                (String
-                                                                ((Ascii
-                                                                (true, true,
-                                                                false, false,
-                                                                true, true,
-                                                                true,
-                                                                false)),
-                                                                EmptyString))))))))))))))))))))))))))))))))))))))))))
-                                                                ((String
-                                                                ((Ascii
-                                                                (true, true,
-                                                                false, false,
-                                                                true, true,
-                                                                true,
-                                                                false)),
-                                                                (String
-                                                                ((Ascii
-                                                                (false,
-                                                                false, true,
-                                                                false, true,
-                                                                true, true,
-                                                                false)),
-                                                                (String
-                                                                ((Ascii
-                                                                (false, true,
-                                                                false, false,
-                                                                true, true,
-                                                                true,
-                                                                false)),
-                                                                (String
-                                                                ((Ascii
-                                                                (true, false,
-                                                                false, true,
-                                                                false, true,
-                                                                true,
-                                                                false)),
-                                                                (String
-                                                                ((Ascii
-                                                                (false, true,
-                                                                true, true,
-                                                                false, true,
-                                                                true,
-                                                                false)),
-                                                                (String
-                                                                ((Ascii
-                                                                (true, true,
-                                                                true, false,
-                                                                false, true,
-                                                                true,
-                                                                false)),
-                                                                (String
-                                                                ((Ascii
-                                                                (true, true,
-                                                                false, false,
-                                                                true, true,
-                                                                true,
-                                                                false)),
-                                                                (String
-                                                                ((Ascii
-                                                                (false, true,
-                                                                true, true,
-                                                                false, true,
-                                                                false,
-                                                                false)),
-                                                                (String
-                                                                ((Ascii
-                                                                (false,
-                                                                false, true,
-                                                                false, true,
-                                                                false, true,
-                                                                false)),
-                                                                (String
-                                                                ((Ascii
-                                                                (false, true,
-                                                                false, false,
-                                                                true, true,
-                                                                true,
-                                                                false)),
-                                                                (String
-                                                                ((Ascii
-                                                                (true, false,
-                                                                false, true,
-                                                                false, true,
-                                                                true,
-                                                                false)),
-                                                                (String
-                                                                ((Ascii
-                                                                (true, false,
-                                                                true, true,
-                                                                false, true,
-                                                                true,
-                                                                false)),
-                                                                (String
-                                                                ((Ascii
-                                                                (true, true,
-                                                                false, false,
-                                                                true, false,
-                                                                true,
-                                                                false)),
-                                                                (String
-                                                                ((Ascii
-                                                                (false,
-                                                                false, false,
-                                                                false, true,
-                                                                true, true,
-                                                                false)),
-                                                                (String
-                                                                ((Ascii
-                                                                (true, false,
-                                                                false, false,
-                                                                false, true,
-                                                                true,
-                                                                false)),
-                                                                (String
-                                                                ((Ascii
-                                                                (true, true,
-                                                                false, false,
-                                                                false, true,
-                                                                true,
-                                                                false)),
-                                                                (String
-                                                                ((Ascii
-                                                                (true, false,
-                                                                true, false,
-                                                                false, true,
-                                                                true,
-                                                                false)),
-                                                                EmptyString)))))))))))))))))))))))))))))))))) :: [])) :: (
-    (mkcut (S (S (S (S (S (S (S (S (S (S (S (S (S (S (S (S (S (S (S (S (S (S
-      (S (S (S (S (S (S (S (S (S (S (S (S (S (S (S (S (S (S (S (S (S (S (S (S
-      (S (S (S (S (S (S (S
-      O))))))))))))))))))))))))))))))))))))))))))))))))))))) (S (S (S (S (S
-      (S (S (S (S (S (S (S (S (S (S (S (S (S (S (S (S (S (S (S (S (S (S (S (S
-      (S (S (S (S (S (S (S (S (S (S (S (S (S (S (S (S (S (S (S (S (S (S (S (S
-      (S (S (S (S (S (S (S (S (S (S (S (S (S (S (S (S (S (S (S (S (S (S (S (S
-      (S (S (S (S (S (S (S (S (S (S
-      O)))))))))))))))))))))))))))))))))))))))))))))))))))))))))))))))))))))))))))))))))))))))
-      EmptyString []) :: ((mkcut (S (S (S (S (S (S (S (S (S (S (S (S (S (S (S
-                            (S (S (S (S (S (S (S (S (S (S (S (S (S (S (S (S
-                            (S (S (S (S (S (S (S (S (S (S (S (S (S (S (S (S
-                            (S (S (S (S (S (S (S (S (S (S (S (S (S (S (S (S
-                            (S (S (S (S (S (S (S (S (S (S (S (S (S (S (S (S
-                            (S (S (S (S (S (S (S (S
-                            O)))))))))))))))))))))))))))))))))))))))))))))))))))))))))))))))))))))))))))))))))))))))
-                            (S (S (S (S (S (S (S (S (S (S (S (S (S (S (S (S
-                            (S (S (S (S (S (S (S (S (S (S (S (S (S (S (S (S
-                            (S (S (S (S (S (S (S (S (S (S (S (S (S (S (S (S
-                            (S (S (S (S (S (S (S (S (S (S (S (S (S (S (S (S
-                            (S (S (S (S (S (S (S (S (S (S (S (S (S (S (S (S
-                            (S (S (S (S (S (S (S (S (S (S (S (S (S (S
-                            O))))))))))))))))))))))))))))))))))))))))))))))))))))))))))))))))))))))))))))))))))))))))))))))
-                            (String ((Ascii (true, false, true, false, false,
-                            false, true, false)), (String ((Ascii (false,
-                            true, true, true, false, true, true, false)),
-                            (String ((Ascii (false, false, true, false, true,
-                            true, true, false)), (String ((Ascii (false,
-                            true, false, false, true, true, true, false)),
-                            (String ((Ascii (true, false, false, true, true,
-                            true, true, false)), (String ((Ascii (false,
-                            false, true, false, false, false, true, false)),
-                            (String ((Ascii (true, false, true, false, false,
-                            true, true, false)), (String ((Ascii (false,
-                            false, true, false, true, true, true, false)),
-                            (String ((Ascii (true, false, false, false,
-                            false, true, true, false)), (String ((Ascii
-                            (true, false, false, true, false, true, true,
-                            false)), (String ((Ascii (false, false, true,
-                            true, false, true, true, false)), (String ((Ascii
-                            (true, true, false, false, true, false, true,
-                            false)), (String ((Ascii (true, false, true,
-                            false, false, true, true, false)), (String
-                            ((Ascii (true, false, false, false, true, true,
-                            true, false)), (String ((Ascii (true, false,
-                            true, false, true, true, true, false)), (String
-                            ((Ascii (true, false, true, false, false, true,
-                            true, false)), (String ((Ascii (false, true,
-                            true, true, false, true, true, false)), (String
-                            ((Ascii (true, true, false, false, false, true,
-                            true, false)), (String ((Ascii (true, false,
-                            true, false, false, true, true, false)), (String
-                            ((Ascii (false, true, true, true, false, false,
-                            true, false)), (String ((Ascii (true, false,
-                            true, false, true, true, true, false)), (String
-                            ((Ascii (true, false, true, true, false, true,
-                            true, false)), (String ((Ascii (false, true,
-                            false, false, false, true, true, false)), (String
-                            ((Ascii (true, false, true, false, false, true,
-                            true, false)), (String ((Ascii (false, true,
-                            false, false, true, true, true, false)),
-                            EmptyString))))))))))))))))))))))))))))))))))))))))))))))))))
-                            ((String ((Ascii (false, false, false, false,
-                            true, true, true, false)), (String ((Ascii (true,
-                            false, false, false, false, true, true, false)),
-                            (String ((Ascii (false, true, false, false, true,
-                            true, true, false)), (String ((Ascii (true, true,
-                            false, false, true, true, true, false)), (String
-                            ((Ascii (true, false, true, false, false, true,
-                            true, false)), (String ((Ascii (false, true,
-                            true, true, false, false, true, false)), (String
-                            ((Ascii (true, false, true, false, true, true,
-                            true, false)), (String ((Ascii (true, false,
-                            true, true, false, true, true, false)), (String
-                            ((Ascii (false, true, true, false, false, false,
-                            true, false)), (String ((Ascii (true, false,
-                            false, true, false, true, true, false)), (String
-                            ((Ascii (true, false, true, false, false, true,
-                            true, false)), (String ((Ascii (false, false,
-                            true, true, false, true, true, false)), (String
-                            ((Ascii (false, false, true, false, false, true,
-                            true, false)),
-                            EmptyString)))))))))))))))))))))))))) :: [])) :: [])))))) }
-
-(** val l_Addenda16 : layout **)
-
-let l_Addenda16 =
-  { l_name = (String ((Ascii (true, false, false, false, false, false, true,
-    false)), (String ((Ascii (false, false, true, false, false, true, true,
-    false)), (String ((Ascii (false, false, true, false, false, true, true,
-    false)), (String ((Ascii (true, false, true, false, false, true, true,
-    false)), (String ((Ascii (false, true, true, true, false, true, true,
-    false)), (String ((Ascii (false, false, true, false, false, true, true,
-    false)), (String ((Ascii (true, false, false, false, false, true, true,
-    false)), (String ((Ascii (true, false, false, false, true, true, false,
-    false)), (String ((Ascii (false, true, true, false, true, true, false,
-    false)), EmptyString)))))))))))))))))); l_ix = IRune; l_segs = ((SLit
-    ((Npos (XI (XI (XI (XO (XI XH)))))) :: [])) :: ((SRaw (String ((Ascii
-    (false, false, true, false, true, false, true, false)), (String ((Ascii
-    (true, false, false, true, true, true, true, false)), (String ((Ascii
-    (false, false, false, false, true, true, true, false)), (String ((Ascii
-    (true, false, true, false, false, true, true, false)), (String ((Ascii
-    (true, true, false, false, false, false, true, false)), (String ((Ascii
-    (true, true, true, true, false, true, true, false)), (String ((Ascii
-    (false, false, true, false, false, true, true, false)), (String ((Ascii
-    (true, false, true, false, false, true, true, false)),
-    EmptyString))))))))))))))))) :: ((SAlpha ((String ((Ascii (false, true,
-    false, false, true, false, true, false)), (String ((Ascii (true, false,
-    true, false, false, true, true, false)), (String ((Ascii (true, true,
-    false, false, false, true, true, false)), (String ((Ascii (true, false,
-    true, false, false, true, true, false)), (String ((Ascii (true, false,
-    false, true, false, true, true, false)), (String ((Ascii (false, true,
-    true, false, true, true, true, false)), (String ((Ascii (true, false,
-    true, false, false, true, true, false)), (String ((Ascii (false, true,
-    false, false, true, true, true, false)), (String ((Ascii (true, true,
-    false, false, false, false, true, false)), (String ((Ascii (true, false,
-    false, true, false, true, true, false)), (String ((Ascii (false, false,
-    true, false, true, true, true, false)), (String ((Ascii (true, false,
-    false, true, true, true, true, false)), (String ((Ascii (true, true,
-    false, false, true, false, true, false)), (String ((Ascii (false, false,
-    true, false, true, true, true, false)), (String ((Ascii (true, false,
-    false, false, false, true, true, false)), (String ((Ascii (false, false,
-    true, false, true, true, true, false)), (String ((Ascii (true, false,
-    true, false, false, true, true, false)), (String ((Ascii (false, false,
-    false, false, true, false, true, false)), (String ((Ascii (false, true,
-    false, false, true, true, true, false)), (String ((Ascii (true, true,
-    true, true, false, true, true, false)), (String ((Ascii (false, true,
-    true, false, true, true, true, false)), (String ((Ascii (true, false,
-    false, true, false, true, true, false)), (String ((Ascii (false, true,
-    true, true, false, true, true, false)), (String ((Ascii (true, true,
-    false, false, false, true, true, false)), (String ((Ascii (true, false,
-    true, false, false, true, true, false)),
-    EmptyString)))))))))))))))))))))))))))))))))))))))))))))))))), (S (S (S
-    (S (S (S (S (S (S (S (S (S (S (S (S (S (S (S (S (S (S (S (S (S (S (S (S
-    (S (S (S (S (S (S (S (S
-    O))))))))))))))))))))))))))))))))))))) :: ((SAlpha ((String ((Ascii
-    (false, true, false, false, true, false, true, false)), (String ((Ascii
-    (true, false, true, false, false, true, true, false)), (String ((Ascii
-    (true, true, false, false, false, true, true, false)), (String ((Ascii
-    (true, false, true, false, false, true, true, false)), (String ((Ascii
-    (true, false, false, true, false, true, true, false)), (String ((Ascii
-    (false, true, true, false, true, true, true, false)), (String ((Ascii
-    (true, false, true, false, false, true, true, false)), (String ((Ascii
-    (false, true, false, false, true, true, true, false)), (String ((Ascii
-    (true, true, false, false, false, false, true, false)), (String ((Ascii
-    (true, true, true, true, false, true, true, false)), (String ((Ascii
-    (true, false, true, false, true, true, true, false)), (String ((Ascii
-    (false, true, true, true, false, true, true, false)), (String ((Ascii
-    (false, false, true, false, true, true, true, false)), (String ((Ascii
-    (false, true, false, false, true, true, true, false)), (String ((Ascii
-    (true, false, false, true, true, true, true, false)), (String ((Ascii
-    (false, false, false, false, true, false, true, false)), (String ((Ascii
-    (true, true, true, true, false, true, true, false)), (String ((Ascii
-    (true, true, false, false, true, true, true, false)), (String ((Ascii
-    (false, false, true, false, true, true, true, false)), (String ((Ascii
-    (true, false, false, false, false, true, true, false)), (String ((Ascii
-    (false, false, true, true, false, true, true, false)), (String ((Ascii
-    (true, true, false, false, false, false, true, false)), (String ((Ascii
-    (true, true, true, true, false, true, true, false)), (String ((Ascii
-    (false, false, true, false, false, true, true, false)), (String ((Ascii
-    (true, false, true, false, false, true, true, false)),
-    EmptyString)))))))))))))))))))))))))))))))))))))))))))))))))), (S (S (S
-    (S (S (S (S (S (S (S (S (S (S (S (S (S (S (S (S (S (S (S (S (S (S (S (S
-    (S (S (S (S (S (S (S (S O))))))))))))))))))))))))))))))))))))) :: ((SLit
-    ((Npos (XO (XO (XO (XO (XO XH)))))) :: ((Npos (XO (XO (XO (XO (XO
-    XH)))))) :: ((Npos (XO (XO (XO (XO (XO XH)))))) :: ((Npos (XO (XO (XO (XO
-    (XO XH)))))) :: ((Npos (XO (XO (XO (XO (XO XH)))))) :: ((Npos (XO (XO (XO
-    (XO (XO XH)))))) :: ((Npos (XO (XO (XO (XO (XO XH)))))) :: ((Npos (XO (XO
-    (XO (XO (XO XH)))))) :: ((Npos (XO (XO (XO (XO (XO XH)))))) :: ((Npos (XO
-    (XO (XO (XO (XO XH)))))) :: ((Npos (XO (XO (XO (XO (XO XH)))))) :: ((Npos
-    (XO (XO (XO (XO (XO XH)))))) :: ((Npos (XO (XO (XO (XO (XO
-    XH)))))) :: ((Npos (XO (XO (XO (XO (XO
-    XH)))))) :: []))))))))))))))) :: ((SNum ((String ((Ascii (true, false,
-    true, false, false, false, true, false)), (String ((Ascii (false, true,
-    true, true, false, true, true, false)), (String ((Ascii (false, false,
-    true, false, true, true, true, false)), (String ((Ascii (false, true,
-    false, false, true, true, true, false)), (String ((Ascii (true, false,
-    false, true, true, true, true, false)), (String ((Ascii (false, false,
-    true, false, false, false, true, false)), (String ((Ascii (true, false,
-    true, false, false, true, true, false)), (String ((Ascii (false, false,
-    true, false, true, true, true, false)), (String ((Ascii (true, false,
-    false, false, false, true, true, false)), (String ((Ascii (true, false,
-    false, true, false, true, true, false)), (String ((Ascii (false, false,
-    true, true, false, true, true, false)), (String ((Ascii (true, true,
-    false, false, true, false, true, false)), (String ((Ascii (true, false,
-    true, false, false, true, true, false)), (String ((Ascii (true, false,
-    false, false, true, true, true, false)), (String ((Ascii (true, false,
-    true, false, true, true, true, false)), (String ((Ascii (true, false,
-    true, false, false, true, true, false)), (String ((Ascii (false, true,
-    true, true, false, true, true, false)), (String ((Ascii (true, true,
-    false, false, false, true, true, false)), (String ((Ascii (true, false,
-    true, false, false, true, true, false)), (String ((Ascii (false, true,
-    true, true, false, false, true, false)), (String ((Ascii (true, false,
-    true, false, true, true, true, false)), (String ((Ascii (true, false,
-    true, true, false, true, true, false)), (String ((Ascii (false, true,
-    false, false, false, true, true, false)), (String ((Ascii (true, false,
-    true, false, false, true, true, false)), (String ((Ascii (false, true,
-    false, false, true, true, true, false)),
-    EmptyString)))))))))))))))))))))))))))))))))))))))))))))))))), (S (S (S
-    (S (S (S (S O))))))))) :: [])))))); l_cuts =
-    ((mkcut O (S O) EmptyString []) :: ((mkcut (S O) (S (S (S O))) (String
-                                          ((Ascii (false, false, true, false,
-                                          true, false, true, false)), (String
-                                          ((Ascii (true, false, false, true,
-                                          true, true, true, false)), (String
-                                          ((Ascii (false, false, false,
-                                          false, true, true, true, false)),
-                                          (String ((Ascii (true, false, true,
-                                          false, false, true, true, false)),
-                                          (String ((Ascii (true, true, false,
-                                          false, false, false, true, false)),
-                                          (String ((Ascii (true, true, true,
-                                          true, false, true, true, false)),
-                                          (String ((Ascii (false, false,
-                                          true, false, false, true, true,
-                                          false)), (String ((Ascii (true,
-                                          false, true, false, false, true,
-                                          true, false)),
-                                          EmptyString)))))))))))))))) []) :: (
-    (mkcut (S (S (S O))) (S (S (S (S (S (S (S (S (S (S (S (S (S (S (S (S (S
-      (S (S (S (S (S (S (S (S (S (S (S (S (S (S (S (S (S (S (S (S (S
-      O)))))))))))))))))))))))))))))))))))))) (String ((Ascii (false, true,
-      false, false, true, false, true, false)), (String ((Ascii (true, false,
-      true, false, false, true, true, false)), (String ((Ascii (true, true,
-      false, false, false, true, true, false)), (String ((Ascii (true, false,
-      true, false, false, true, true, false)), (String ((Ascii (true, false,
-      false, true, false, true, true, false)), (String ((Ascii (false, true,
-      true, false, true, true, true, false)), (String ((Ascii (true, false,
-      true, false, false, true, true, false)), (String ((Ascii (false, true,
-      false, false, true, true, true, false)), (String ((Ascii (true, true,
-      false, false, false, false, true, false)), (String ((Ascii (true,
-      false, false, true, false, true, true, false)), (String ((Ascii (false,
-      false, true, false, true, true, true, false)), (String ((Ascii (true,
-      false, false, true, true, true, true, false)), (String ((Ascii (true,
-      true, false, false, true, false, true, false)), (String ((Ascii (false,
-      false, true, false, true, true, true, false)), (String ((Ascii (true,
-      false, false, false, false, true, true, false)), (String ((Ascii
-      (false, false, true, false, true, true, true, false)), (String ((Ascii
-      (true, false, true, false, false, true, true, false)), (String ((Ascii
-      (false, false, false, false, true, false, true, false)), (String
-      ((Ascii (false, true, false, false, true, true, true, false)), (String
-      ((Ascii (true, true, true, true, false, true, true, false)), (String
-      ((Ascii (false, true, true, false, true, true, true, false)), (String
-      ((Ascii (true, false, false, true, false, true, true, false)), (String
-      ((Ascii (false, true, true, true, false, true, true, false)), (String
-      ((Ascii (true, true, false, false, false, true, true, false)), (String
-      ((Ascii (true, false, true, false, false, true, true, false)),
-      EmptyString)))))))))))))))))))))))))))))))))))))))))))))))))) ((String
-      ((Ascii (true, true, false, false, true, true, true, false)), (String
-      ((Ascii (false, false, true, false, true, true, true, false)), (String
-      ((Ascii (false, true, false, false, true, true, true, false)), (String
-      ((Ascii (true, false, false, true, false, true, true, false)), (String
-      ((Ascii (false, true, true, true, false, true, true, false)), (String
-      ((Ascii (true, true, true, false, false, true, true, false)), (String
-      ((Ascii (true, true, false, false, true, true, true, false)), (String
-      ((Ascii (false, true, true, true, false, true, false, false)), (String
-      ((Ascii (false, false, true, false, true, false, true, false)), (String
-      ((Ascii (false, true, false, false, true, true, true, false)), (String
-      ((Ascii (true, false, false, true, false, true, true, false)), (String
-      ((Ascii (true, false, true, true, false, true, true, false)), (String
-      ((Ascii (true, true, false, false, true, false, true, false)), (String
-      ((Ascii (false, false, false, false, true, true, true, false)), (String
-      ((Ascii (true, false, false, false, false, true, true, false)), (String
-      ((Ascii (true, true, false, false, false, true, true, false)), (String
-      ((Ascii (true, false, true, false, false, true, true, false)),
-      EmptyString)))))))))))))))))))))))))))))))))) :: [])) :: ((mkcut (S (S
-                                                                  (S (S (S (S
-                                                                  (S (S (S (S
-                                                                  (S (S (S (S
-                                                                  (S (S (S (S
-                                                                  (S (S (S (S
-                                                                  (S (S (S (S
-                                                                  (S (S (S (S
-                                                                  (S (S (S (S
-                                                                  (S (S (S (S
-                                                                  O))))))))))))))))))))))))))))))))))))))
-                                                                  (S (S (S (S
-                                                                  (S (S (S (S
-                                                                  (S (S (S (S
-                                                                  (S (S (S (S
-                                                                  (S (S (S (S
-                                                                  (S (S (S (S
-                                                                  (S (S (S (S
-                                                                  (S (S (S (S
-                                                                  (S (S (S (S
-                                                                  (S (S (S (S
-                                                                  (S (S (S (S
-                                                                  (S (S (S (S
-                                                                  (S (S (S (S
-                                                                  (S (S (S (S
-                                                                  (S (S (S (S
-                                                                  (S (S (S (S
-                                                                  (S (S (S (S
-                                                                  (S (S (S (S
-                                                                  (S
-                                                                  O)))))))))))))))))))))))))))))))))))))))))))))))))))))))))))))))))))))))))
-                                                                  (String
-                                                                  ((Ascii
-                                                                  (false,
-                                                                  true,
-                                                                  false,
-                                                                  false,
-                                                                  true,
-                                                                  false,
-                                                                  true,
-                                                                  false)),
-                                                                  (String
-                                                                  ((Ascii
-                                                                  (true,
-                                                                  false,
-                                                                  true,
-                                                                  false,
-                                                                  false,
-                                                                  true, true,
-                                                                  false)),
-                                                                  (String
-                                                                  ((Ascii
-                                                                  (true,
-                                                                  true,
-                                                                  false,
-                                                                  false,
-                                                                  false,
-                                                                  true, true,
-                                                                  false)),
-                                                                  (String
-                                                                  ((Ascii
-                                                                  (true,
-                                                                  false,
-                                                                  true,
-                                                                  false,
-                                                                  false,
-                                                                  true, true,
-                                                                  false)),
-                                                                  (String
-                                                                  ((Ascii
-                                                                  (true,
-                                                                  false,
-                                                                  false,
-                                                                  true,
-                                                                  false,
-                                                                  true, true,
-                                                                  false)),
-                                                                  (String
-                                                                  ((Ascii
-                                                                  (false,
-                                                                  true, true,
-                                                                  false,
-                                                                  true, true,
-                                                                  true,
-                                                                  false)),
-                                                                  (String
-                                                                  ((Ascii
-                                                                  (true,
-                                                                  false,
-                                                                  true,
-                                                                  false,
-                                                                  false,
-                                                                  true, true,
-                                                                  false)),
-                                                                  (String
-                                                                  ((Ascii
-                                                                  (false,
-                                                                  true,
-                                                                  false,
-                                                                  false,
-                                                                  true, true,
-                                                                  true,
-                                                                  false)),
-                                                                  (String
-                                                                  ((Ascii
-                                                                  (true,
-                                                                  true,
-                                                                  false,
-                                                                  false,
-                                                                  false,
-                                                                  false,
-                                                                  true,
-                                                                  false)),
-                                                                  (String
-                                                                  ((Ascii
-                                                                  (true,
-                                                                  true, true,
-                                                                  true,
-                                                                  false,
-                                                                  true, true,
-                                                                  false)),
-                                                                  (String
-                                                                  ((Ascii
-                                                                  (true,
-                                                                  false,
-                                                                  true,
-                                                                  false,
-                                                                  true, true,
-                                                                  true,
-                                                                  false)),
-                                                                  (String
-                                                                  ((Ascii
-                                                                  (false,
-                                                                  true, true,
-                                                                  true,
-                                                                  false,
-                                                                  true, true,
-                                                                  false)),
-                                                                  (String
-                                                                  ((Ascii
-                                                                  (false,
-                                                                  false,
-                                                                  true,
-                                                                  false,
-                                                                  true, true,
-                                                                  true,
-                                                                  false)),
-                                                                  (String
-                                                                  ((Ascii
-                                                                  (false,
-                                                                  true,
-                                                                  false,
-                                                                  false,
-                                                                  true, true,
-                                                                  true,
-                                                                  false)),
-                                                                  (String
-                                                                  ((Ascii
-                                                                  (true,
-                                                                  false,
-                                                                  false,
-                                                                  true, true,
-                                                                  true, true,
-                                                                  false)),
-                                                                  (String
-                                                                  ((Ascii
-                                                                  (false,
-                                                                  false,
-                                                                  false,
-                                                                  false,
-                                                                  true,
-                                                                  false,
-                                                                  true,
-                                                                  false)),
-                                                                  (String
-                                                                  ((Ascii
-                                                                  (true,
-                                                                  true, true,
-                                                                  true,
-                                                                  false,
-                                                                  true, true,
-                                                                  false)),
-                                                                  (String
-                                                                  ((Ascii
-                                                                  (true,
-                                                                  true,
-                                                                  false,
-                                                                  false,
-                                                                  true, true,
-                                                                  true,
-                                                                  false)),
-                                                                  (String
-                                                                  ((Ascii
-                                                                  (false,
-                                                                  false,
-                                                                  true,
-                                                                  false,
-                                                                  true, true,
-                                                                  true,
-                                                                  false)),
-                                                                  (String
-                                                                  ((Ascii
-                                                                  (true,
-                                                                  false,
-                                                                  false,
-                                                                  false,
-                                                                  false,
-                                                                  true, true,
-                                                                  false)),
-                                                                  (String
-                                                                  ((Ascii
-                                                                  (false,
-                                                                  false,
-                                                                  true, true,
-                                                                  false,
-                                                                  true, true,
-                                                                  false)),
-                                                                  (String
-                                                                  ((Ascii
-                                                                  (true,
-                                                                  true,
-                                                                  false,
-                                                                  false,
-                                                                  false,
-                                                                  false,
-                                                                  true,
-                                                                  false)),
-                                                                  (String
-                                                                  ((Ascii
-                                                                  (true,
-                                                                  true, true,
-                                                                  true,
-                                                                  false,
-                                                                  true, true,
-                                                                  false)),
-                                                                  (String
-                                                                  ((Ascii
-                                                                  (false,
-                                                                  false,
-                                                                  true,
-                                                                  false,
-                                                                  false,
-                                                                  true, true,
-                                                                  false)),
-                                                                  (String
-                                                                  ((Ascii
-                                                                  (true,
-                                                                  false,
-                                                                  true,
-                                                                  false,
-                                                                  false,
-                                                                  true, true,
-                                                                  false)),
-                                                                  EmptyString))))))))))))))))))))))))))))))))))))))))))))))))))
-                                                                  ((String
-                                                                  ((Ascii
-                                                                  (true,
-                                                                  true,
-                                                                  false,
-                                                                  false,
-                                                                  true, true,
-                                                                  true,
-                                                                  false)),
-                                                                  (String
-                                                                  ((Ascii
-                                                                  (false,
-                                                                  false,
-                                                                  true,
-                                                                  false,
-                                                                  true, true,
-                                                                  true,
-                                                                  false)),
-                                                                  (String
-                                                                  ((Ascii
-                                                                  (false,
-                                                                  true,
-                                                                  false,
-                                                                  false,
-                                                                  true, true,
-                                                                  true,
-                                                                  false)),
-                                                                  (String
-                                                                  ((Ascii
-                                                                  (true,
-                                                                  false,
-                                                                  false,
-                                                                  true,
-                                                                  false,
-                                                                  true, true,
-                                                                  false)),
-                                                                  (String
-                                                                  ((Ascii
-                                                                  (false,
-                                                                  true, true,
-                                                                  true,
-                                                                  false,
-                                                                  true, true,
-                                                                  false)),
-                                                                  (String
-                                                                  ((Ascii
-                                                                  (true,
-                                                                  true, true,
-                                                                  false,
-                                                                  false,
-                                                                  true, true,
-                                                                  false)),
-                                                                  (String
-                                                                  ((Ascii
-                                                                  (true,
-                                                                  true,
-                                                                  false,
-                                                                  false,
-                                                                  true, true,
-                                                                  true,
-                                                                  false)),
-                                                                  (String
-                                                                  ((Ascii
-                                                                  (false,
-                                                                  true, true,
-                                                                  true,
-                                                                  false,
-                                                                  true,
-                                                                  false,
-                                                                  false)),
-                                                                  (String
-                                                                  ((Ascii
-                                                                  (false,
-                                                                  false,
-                                                                  true,
-                                                                  false,
-                                                                  true,
-                                                                  false,
-                                                                  true,
-                                                                  false)),
-                                                                  (String
-                                                                  ((Ascii
-                                                                  (false,
-                                                                  true,
-                                                                  false,
-                                                                  false,
-                                                                  true, true,
-                                                                  true,
-                                                                  false)),
-                                                                  (String
-                                                                  ((Ascii
-                                                                  (true,
-                                                                  false,
-                                                                  false,
-                                                                  true,
-                                                                  false,
-                                                                  true, true,
-                                                                  false)),
-                                                                  (String
-                                                                  ((Ascii
-                                                                  (true,
-                                                                  false,
-                                                                  true, true,
-                                                                  false,
-                                                                  true, true,
-                                                                  false)),
-                                                                  (String
-                                                                  ((Ascii
-                                                                  (true,
-                                                                  true,
-                                                                  false,
-                                                                  false,
-                                                                  true,
-                                                                  false,
-                                                                  true,
-                                                                  false)),
-                                                                  (String
-                                                                  ((Ascii
-                                                                  (false,
-                                                                  false,
-                                                                  false,
-                                                                  false,
-                                                                  true, true,
-                                                                  true,
-                                                                  false)),
-                                                                  (String
-                                                                  ((Ascii
-                                                                  (true,
-                                                                  false,
-                                                                  false,
-                                                                  false,
-                                                                  false,
-                                                                  true, true,
-                                                                  false)),
-                                                                  (String
-                                                                  ((Ascii
-                                                                  (true,
-                                                                  true,
-                                                                  false,
-                                                                  false,
-                                                                  false,
-                                                                  true, true,
-                                                                  false)),
-                                                                  (String
-                                                                  ((Ascii
-                                                                  (true,
-                                                                  false,
-                                                                  true,
-                                                                  false,
-                                                                  false,
-                                                                  true, true,
-                                                                  false)),
-                                                                  EmptyString)))))))))))))))))))))))))))))))))) :: [])) :: (
-    (mkcut (S (S (S (S (S (S (S (S (S (S (S (S (S (S (S (S (S (S (S (S (S (S
-      (S (S (S (S (S (S (S (S (S (S (S (S (S (S (S (S (S (S (S (S (S (S (S (S
-      (S (S (S (S (S (S (S (S (S (S (S (S (S (S (S (S (S (S (S (S (S (S (S (S
-      (S (S (S
-      O)))))))))))))))))))))))))))))))))))))))))))))))))))))))))))))))))))))))))
-      (S (S (S (S (S (S (S (S (S (S (S (S (S (S (S (S (S (S (S (S (S (S (S (S
-      (S (S (S (S (S (S (S (S (S (S (S (S (S (S (S (S (S (S (S (S (S (S (S (S
-      (S (S (S (S (S (S (S (S (S (S (S (S (S (S (S (S (S (S (S (S (S (S (S (S
-      (S (S (S (S (S (S (S (S (S (S (S (S (S (S (S
-      O)))))))))))))))))))))))))))))))))))))))))))))))))))))))))))))))))))))))))))))))))))))))
-      EmptyString []) :: ((mkcut (S (S (S (S (S (S (S (S (S (S (S (S (S (S (S
-                            (S (S (S (S (S (S (S (S (S (S (S (S (S (S (S (S
-                            (S (S (S (S (S (S (S (S (S (S (S (S (S (S (S (S
-                            (S (S (S (S (S (S (S (S (S (S (S (S (S (S (S (S
-                            (S (S (S (S (S (S (S (S (S (S (S (S (S (S (S (S
-                            (S (S (S (S (S (S (S (S
-                            O)))))))))))))))))))))))))))))))))))))))))))))))))))))))))))))))))))))))))))))))))))))))
-                            (S (S (S (S (S (S (S (S (S (S (S (S (S (S (S (S
-                            (S (S (S (S (S (S (S (S (S (S (S (S (S (S (S (S
-                            (S (S (S (S (S (S (S (S (S (S (S (S (S (S (S (S
-                            (S (S (S (S (S (S (S (S (S (S (S (S (S (S (S (S
-                            (S (S (S (S (S (S (S (S (S (S (S (S (S (S (S (S
-                            (S (S (S (S (S (S (S (S (S (S (S (S (S (S
-                            O))))))))))))))))))))))))))))))))))))))))))))))))))))))))))))))))))))))))))))))))))))))))))))))
-                            (String ((Ascii (true, false, true, false, false,
-                            false, true, false)), (String ((Ascii (false,
-                            true, true, true, false, true, true, false)),
-                            (String ((Ascii (false, false, true, false, true,
-                            true, true, false)), (String ((Ascii (false,
-                            true, false, false, true, true, true, false)),
-                            (String ((Ascii (true, false, false, true, true,
-                            true, true, false)), (String ((Ascii (false,
-                            false, true, false, false, false, true, false)),
-                            (String ((Ascii (true, false, true, false, false,
-                            true, true, false)), (String ((Ascii (false,
-                            false, true, false, true, true, true, false)),
-                            (String ((Ascii (true, false, false, false,
-                            false, true, true, false)), (String ((Ascii
-                            (true, false, false, true, false, true, true,
-                            false)), (String ((Ascii (false, false, true,
-                            true, false, true, true, false)), (String ((Ascii
-                            (true, true, false, false, true, false, true,
-                            false)), (String ((Ascii (true, false, true,
-                            false, false, true, true, false)), (String
-                            ((Ascii (true, false, false, false, true, true,
-                            true, false)), (String ((Ascii (true, false,
-                            true, false, true, true, true, false)), (String
-                            ((Ascii (true, false, true, false, false, true,
-                            true, false)), (String ((Ascii (false, true,
-                            true, true, false, true, true, false)), (String
-                            ((Ascii (true, true, false, false, false, true,
-                            true, false)), (String ((Ascii (true, false,
-                            true, false, false, true, true, false)), (String
-                            ((Ascii (false, true, true, true, false, false,
-                            true, false)), (String ((Ascii (true, false,
-                            true, false, true, true, true, false)), (String
-                            ((Ascii (true, false, true, true, false, true,
-                            true, false)), (String ((Ascii (false, true,
-                            false, false, false, true, true, false)), (String
-                            ((Ascii (true, false, true, false, false, true,
-                            true, false)), (String ((Ascii (false, true,
-                            false, false, true, true, true, false)),
-                            EmptyString))))))))))))))))))))))))))))))))))))))))))))))))))
-                            ((String ((Ascii (false, false, false, false,
-                            true, true, true, false)), (String ((Ascii (true,
-                            false, false, false, false, true, true, false)),
-                            (String ((Ascii (false, true, false, false, true,
-                            true, true, false)), (String ((Ascii (true, true,
-                            false, false, true, true, true, false)), (String
-                            ((Ascii (true, false, true, false, false, true,
-                            true, false)), (String ((Ascii (false, true,
-                            true, true, false, false, true, false)), (String
-                            ((Ascii (true, false, true, false, true, true,
-                            true, false)), (String ((Ascii (true, false,
-                            true, true, false, true, true, false)), (String
-                            ((Ascii (false, true, true, false, false, false,
-                            true, false)), (String ((Ascii (true, false,
-                            false, true, false, true, true, false)), (String
-                            ((Ascii (true, false, true, false, false, true,
-                            true, false)), (String ((Ascii (false, false,
-                            true, true, false, true, true, false)), (String
-                            ((Ascii (false, false, true, false, false, true,
-                            true, false)),
-                            EmptyString)))))))))))))))))))))))))) :: [])) :: [])))))) }
-
-(** val l_Addenda17 : layout **)
-
-let l_Addenda17 =
-  { l_name = (String ((Ascii (true, false, false, false, false, false, true,
-    false)), (String ((Ascii (false, false, true, false, false, true, true,
-    false)), (String ((Ascii (false, false, true, false, false, true, true,
-    false)), (String ((Ascii (true, false, true, false, false, true, true,
-    false)), (String ((Ascii (false, true, true, true, false, true, true,
-    false)), (String ((Ascii (false, false, true, false, false, true, true,
-    false)), (String ((Ascii (true, false, false, false, false, true, true,
-    false)), (String ((Ascii (true, false, false, false, true, true, false,
-    false)), (String ((Ascii (true, true, true, false, true, true, false,
-    false)), EmptyString)))))))))))))))))); l_ix = IRune; l_segs = ((SLit
-    ((Npos (XI (XI (XI (XO (XI XH)))))) :: [])) :: ((SRaw (String ((Ascii
-    (false, false, true, false, true, false, true, false)), (String ((Ascii
-    (true, false, false, true, true, true, true, false)), (String ((Ascii
-    (false, false, false, false, true, true, true, false)), (String ((Ascii
-    (true, false, true, false, false, true, true, false)), (String ((Ascii
-    (true, true, false, false, false, false, true, false)), (String ((Ascii
-    (true, true, true, true, false, true, true, false)), (String ((Ascii
-    (false, false, true, false, false, true, true, false)), (String ((Ascii
-    (true, false, true, false, false, true, true, false)),
-    EmptyString))))))))))))))))) :: ((SAlpha ((String ((Ascii (false, false,
-    false, false, true, false, true, false)), (String ((Ascii (true, false,
-    false, false, false, true, true, false)), (String ((Ascii (true, false,
-    false, true, true, true, true, false)), (String ((Ascii (true, false,
-    true, true, false, true, true, false)), (String ((Ascii (true, false,
-    true, false, false, true, true, false)), (String ((Ascii (false, true,
-    true, true, false, true, true, false)), (String ((Ascii (false, false,
-    true, false, true, true, true, false)), (String ((Ascii (false, true,
-    false, false, true, false, true, false)), (String ((Ascii (true, false,
-    true, false, false, true, true, false)), (String ((Ascii (false, false,
-    true, true, false, true, true, false)), (String ((Ascii (true, false,
-    false, false, false, true, true, false)), (String ((Ascii (false, false,
-    true, false, true, true, true, false)), (String ((Ascii (true, false,
-    true, false, false, true, true, false)), (String ((Ascii (false, false,
-    true, false, false, true, true, false)), (String ((Ascii (true, false,
-    false, true, false, false, true, false)), (String ((Ascii (false, true,
-    true, true, false, true, true, false)), (String ((Ascii (false, true,
-    true, false, false, true, true, false)), (String ((Ascii (true, true,
-    true, true, false, true, true, false)), (String ((Ascii (false, true,
-    false, false, true, true, true, false)), (String ((Ascii (true, false,
-    true, true, false, true, true, false)), (String ((Ascii (true, false,
-    false, false, false, true, true, false)), (String ((Ascii (false, false,
-    true, false, true, true, true, false)), (String ((Ascii (true, false,
-    false, true, false, true, true, false)), (String ((Ascii (true, true,
-    true, true, false, true, true, false)), (String ((Ascii (false, true,
-    true, true, false, true, true, false)),
-    EmptyString)))))))))))))))))))))))))))))))))))))))))))))))))), (S (S (S
-    (S (S (S (S (S (S (S (S (S (S (S (S (S (S (S (S (S (S (S (S (S (S (S (S
-    (S (S (S (S (S (S (S (S (S (S (S (S (S (S (S (S (S (S (S (S (S (S (S (S
-    (S (S (S (S (S (S (S (S (S (S (S (S (S (S (S (S (S (S (S (S (S (S (S (S
-    (S (S (S (S (S
-    O)))))))))))))))))))))))))))))))))))))))))))))))))))))))))))))))))))))))))))))))))) :: ((SNum
-    ((String ((Ascii (true, true, false, false, true, false, true, false)),
-    (String ((Ascii (true, false, true, false, false, true, true, false)),
-    (String ((Ascii (true, false, false, false, true, true, true, false)),
-    (String ((Ascii (true, false, true, false, true, true, true, false)),
-    (String ((Ascii (true, false, true, false, false, true, true, false)),
-    (String ((Ascii (false, true, true, true, false, true, true, false)),
+    EmptyString)))))))))))))))))))))))))))))); s_guarded = true; s_done =
     (String ((Ascii (true, true, false, false, false, true, true, false)),
-    (String ((Ascii (true, false, true, false, false, true, true, false)),
-    (String ((Ascii (false, true, true, true, false, false, true, false)),
-    (String ((Ascii (true, false, true, false, true, true, true, false)),
-    (String ((Ascii (true, false, true, true, false, true, true, false)),
-    (String ((Ascii (false, true, false, false, false, true, true, false)),
-    (String ((Ascii (true, false, true, false, false, true, true, false)),
-    (String ((Ascii (false, true, false, false, true, true, true, false)),
-    EmptyString)))))))))))))))))))))))))))), (S (S (S (S O)))))) :: ((SNum
-    ((String ((Ascii (true, false, true, false, false, false, true, false)),
-    (String ((Ascii (false, true, true, true, false, true, true, false)),
     (String ((Ascii (false, false, true, false, true, true, true, false)),
-    (String ((Ascii (false, true, false, false, true, true, true, false)),
-    (String ((Ascii (true, false, false, true, true, true, true, false)),
-    (String ((Ascii (false, false, true, false, false, false, true, false)),
-    (String ((Ascii (true, false, true, false, false, true, true, false)),
-    (String ((Ascii (false, false, true, false, true, true, true, false)),
-    (String ((Ascii (true, false, false, false, false, true, true, false)),
-    (String ((Ascii (true, false, false, true, false, true, true, false)),
-    (String ((Ascii (false, false, true, true, false, true, true, false)),
-    (String ((Ascii (true, true, false, false, true, false, true, false)),
-    (String ((Ascii (true, false, true, false, false, true, true, false)),
-    (String ((Ascii (true, false, false, false, true, true, true, false)),
-    (String ((Ascii (true, false, true, false, true, true, true, false)),
-    (String ((Ascii (true, false, true, false, false, true, true, false)),
-    (String ((Ascii (false, true, true, true, false, true, true, false)),
-    (String ((Ascii (true, true, false, false, false, true, true, false)),
-    (String ((Ascii (true, false, true, false, false, true, true, false)),
-    (String ((Ascii (false, true, true, true, false, false, true, false)),
-    (String ((Ascii (true, false, true, false, true, true, true, false)),
-    (String ((Ascii (true, false, true, true, false, true, true, false)),
-    (String ((Ascii (false, true, false, false, false, true, true, false)),
-    (String ((Ascii (true, false, true, false, false, true, true, false)),
-    (String ((Ascii (false, true, false, false, true, true, true, false)),
-    EmptyString)))))))))))))))))))))))))))))))))))))))))))))))))), (S (S (S
-    (S (S (S (S O))))))))) :: []))))); l_cuts =
-    ((mkcut O (S O) EmptyString []) :: ((mkcut (S O) (S (S (S O))) (String
-                                          ((Ascii (false, false, true, false,
-                                          true, false, true, false)), (String
-                                          ((Ascii (true, false, false, true,
-                                          true, true, true, false)), (String
-                                          ((Ascii (false, false, false,
-                                          false, true, true, true, false)),
-                                          (String ((Ascii (true, false, true,
-                                          false, false, true, true, false)),
-                                          (String ((Ascii (true, true, false,
-                                          false, false, false, true, false)),
-                                          (String ((Ascii (true, true, true,
-                                          true, false, true, true, false)),
-                                          (String ((Ascii (false, false,
-                                          true, false, false, true, true,
-                                          false)), (String ((Ascii (true,
-                                          false, true, false, false, true,
-                                          true, false)),
-                                          EmptyString)))))))))))))))) []) :: (
-    (mkcut (S (S (S O))) (S (S (S (S (S (S (S (S (S (S (S (S (S (S (S (S (S
-      (S (S (S (S (S (S (S (S (S (S (S (S (S (S (S (S (S (S (S (S (S (S (S (S
-      (S (S (S (S (S (S (S (S (S (S (S (S (S (S (S (S (S (S (S (S (S (S (S (S
-      (S (S (S (S (S (S (S (S (S (S (S (S (S (S (S (S (S (S
-      O)))))))))))))))))))))))))))))))))))))))))))))))))))))))))))))))))))))))))))))))))))
-      (String ((Ascii (false, false, false, false, true, false, true,
-      false)), (String ((Ascii (true, false, false, false, false, true, true,
-      false)), (String ((Ascii (true, false, false, true, true, true, true,
-      false)), (String ((Ascii (true, false, true, true, false, true, true,
-      false)), (String ((Ascii (true, false, true, false, false, true, true,
-      false)), (String ((Ascii (false, true, true, true, false, true, true,
-      false)), (String ((Ascii (false, false, true, false, true, true, true,
-      false)), (String ((Ascii (false, true, false, false, true, false, true,
-      false)), (String ((Ascii (true, false, true, false, false, true, true,
-      false)), (String ((Ascii (false, false, true, true, false, true, true,
-      false)), (String ((Ascii (true, false, false, false, false, true, true,
-      false)), (String ((Ascii (false, false, true, false, true, true, true,
-      false)), (String ((Ascii (true, false, true, false, false, true, true,
-      false)), (String ((Ascii (false, false, true, false, false, true, true,
-      false)), (String ((Ascii (true, false, false, true, false, false, true,
-      false)), (String ((Ascii (false, true, true, true, false, true, true,
-      false)), (String ((Ascii (false, true, true, false, false, true, true,
-      false)), (String ((Ascii (true, true, true, true, false, true, true,
-      false)), (String ((Ascii (false, true, false, false, true, true, true,
-      false)), (String ((Ascii (true, false, true, true, false, true, true,
-      false)), (String ((Ascii (true, false, false, false, false, true, true,
-      false)), (String ((Ascii (false, false, true, false, true, true, true,
-      false)), (String ((Ascii (true, false, false, true, false, true, true,
-      false)), (String ((Ascii (true, true, true, true, false, true, true,
-      false)), (String ((Ascii (false, true, true, true, false, true, true,
-      false)), EmptyString))))))))))))))))))))))))))))))))))))))))))))))))))
-      ((String ((Ascii (true, true, false, false, true, true, true, false)),
-      (String ((Ascii (false, false, true, false, true, true, true, false)),
-      (String ((Ascii (false, true, false, false, true, true, true, false)),
-      (String ((Ascii (true, false, false, true, false, true, true, false)),
-      (String ((Ascii (false, true, true, true, false, true, true, false)),
-      (String ((Ascii (true, true, true, false, false, true, true, false)),
-      (String ((Ascii (true, true, false, false, true, true, true, false)),
-      (String ((Ascii (false, true, true, true, false, true, false, false)),
-      (String ((Ascii (false, false, true, false, true, false, true, false)),
-      (String ((Ascii (false, true, false, false, true, true, true, false)),
-      (String ((Ascii (true, false, false, true, false, true, true, false)),
-      (String ((Ascii (true, false, true, true, false, true, true, false)),
-      (String ((Ascii (true, true, false, false, true, false, true, false)),
-      (String ((Ascii (false, false, false, false, true, true, true, false)),
-      (String ((Ascii (true, false, false, false, false, true, true, false)),
-      (String ((Ascii (true, true, false, false, false, true, true, false)),
-      (String ((Ascii (true, false, true, false, false, true, true, false)),
-      EmptyString)))))))))))))))))))))))))))))))))) :: [])) :: ((mkcut (S (S
-                                                                  (S (S (S (S
-                                                                  (S (S (S (S
-                                                                  (S (S (S (S
-                                                                  (S (S (S (S
-                                                                  (S (S (S (S
-                                                                  (S (S (S (S
-                                                                  (S (S (S (S
-                                                                  (S (S (S (S
-                                                                  (S (S (S (S
-                                                                  (S (S (S (S
-                                                                  (S (S (S (S
-                                                                  (S (S (S (S
-                                                                  (S (S (S (S
-                                                                  (S (S (S (S
-                                                                  (S (S (S (S
-                                                                  (S (S (S (S
-                                                                  (S (S (S (S
-                                                                  (S (S (S (S
-                                                                  (S (S (S (S
-                                                                  (S (S (S (S
-                                                                  (S
-                                                                  O)))))))))))))))))))))))))))))))))))))))))))))))))))))))))))))))))))))))))))))))))))
-                                                                  (S (S (S (S
-                                                                  (S (S (S (S
-                                                                  (S (S (S (S
-                                                                  (S (S (S (S
-                                                                  (S (S (S (S
-                                                                  (S (S (S (S
-                                                                  (S (S (S (S
-                                                                  (S (S (S (S
-                                                                  (S (S (S (S
-                                                                  (S (S (S (S
-                                                                  (S (S (S (S
-                                                                  (S (S (S (S
-                                                                  (S (S (S (S
-                                                                  (S (S (S (S
-                                                                  (S (S (S (S
-                                                                  (S (S (S (S
-                                                                  (S (S (S (S
-                                                                  (S (S (S (S
-                                                                  (S (S (S (S
-                                                                  (S (S (S (S
-                                                                  (S (S (S (S
-                                                                  (S (S (S
-                                                                  O)))))))))))))))))))))))))))))))))))))))))))))))))))))))))))))))))))))))))))))))))))))))
-                                                                  (String
-                                                                  ((Ascii
-                                                                  (true,
-                                                                  true,
-                                                                  false,
-                                                                  false,
-                                                                  true,
-                                                                  false,
-                                                                  true,
-                                                                  false)),
-                                                                  (String
-                                                                  ((Ascii
-                                                                  (true,
-                                                                  false,
-                                                                  true,
-                                                                  false,
-                                                                  false,
-                                                                  true, true,
-                                                                  false)),
-                                                                  (String
-                                                                  ((Ascii
-                                                                  (true,
-                                                                  false,
-                                                                  false,
-                                                                  false,
-                                                                  true, true,
-                                                                  true,
-                                                                  false)),
-                                                                  (String
-                                                                  ((Ascii
-                                                                  (true,
-                                                                  false,
-                                                                  true,
-                                                                  false,
-                                                                  true, true,
-                                                                  true,
-                                                                  false)),
-                                                                  (String
-                                                                  ((Ascii
-                                                                  (true,
-                                                                  false,
-                                                                  true,
-                                                                  false,
-                                                                  false,
-                                                                  true, true,
-                                                                  false)),
-                                                                  (String
-                                                                  ((Ascii
-                                                                  (false,
-                                                                  true, true,
-                                                                  true,
-                                                                  false,
-                                                                  true, true,
-                                                                  false)),
-                                                                  (String
-                                                                  ((Ascii
-                                                                  (true,
-                                                                  true,
-                                                                  false,
-                                                                  false,
-                                                                  false,
-                                                                  true, true,
-                                                                  false)),
-                                                                  (String
-                                                                  ((Ascii
-                                                                  (true,
-                                                                  false,
-                                                                  true,
-                                                                  false,
-                                                                  false,
-                                                                  true, true,
-                                                                  false)),
-                                                                  (String
-                                                                  ((Ascii
-                                                                  (false,
-                                                                  true, true,
-                                                                  true,
-                                                                  false,
-                                                                  false,
-                                                                  true,
-                                                                  false)),
-                                                                  (String
-                                                                  ((Ascii
-                                                                  (true,
-                                                                  false,
-                                                                  true,
-                                                                  false,
-                                                                  true, true,
-                                                                  true,
-                                                                  false)),
-                                                                  (String
-                                                                  ((Ascii
-                                                                  (true,
-                                                                  false,
-                                                                  true, true,
-                                                                  false,
-                                                                  true, true,
-                                                                  false)),
-                                                                  (String
-                                                                  ((Ascii
-                                                                  (false,
-                                                                  true,
-                                                                  false,
-                                                                  false,
-                                                                  false,
-                                                                  true, true,
-                                                                  false)),
-                                                                  (String
-                                                                  ((Ascii
-                                                                  (true,
-                                                                  false,
-                                                                  true,
-                                                                  false,
-                                                                  false,
-                                                                  true, true,
-                                                                  false)),
-                                                                  (String
-                                                                  ((Ascii
-                                                                  (false,
-                                                                  true,
-                                                                  false,
-                                                                  false,
-                                                                  true, true,
-                                                                  true,
-                                                                  false)),
-                                                                  EmptyString))))))))))))))))))))))))))))
-                                                                  ((String
-                                                                  ((Ascii
-                                                                  (false,
-                                                                  false,
-                                                                  false,
-                                                                  false,
-                                                                  true, true,
-                                                                  true,
-                                                                  false)),
-                                                                  (String
-                                                                  ((Ascii
-                                                                  (true,
-                                                                  false,
-                                                                  false,
-                                                                  false,
-                                                                  false,
-                                                                  true, true,
-                                                                  false)),
-                                                                  (String
-                                                                  ((Ascii
-                                                                  (false,
-                                                                  true,
-                                                                  false,
-                                                                  false,
-                                                                  true, true,
-                                                                  true,
-                                                                  false)),
-                                                                  (String
-                                                                  ((Ascii
-                                                                  (true,
-                                                                  true,
-                                                                  false,
-                                                                  false,
-                                                                  true, true,
-                                                                  true,
-                                                                  false)),
-                                                                  (String
-                                                                  ((Ascii
-                                                                  (true,
-                                                                  false,
-                                                                  true,
-                                                                  false,
-                                                                  false,
-                                                                  true, true,
-                                                                  false)),
-                                                                  (String
-                                                                  ((Ascii
-                                                                  (false,
-                                                                  true, true,
-                                                                  true,
-                                                                  false,
-                                                                  false,
-                                                                  true,
-                                                                  false)),
-                                                                  (String
-                                                                  ((Ascii
-                                                                  (true,
-                                                                  false,
-                                                                  true,
-                                                                  false,
-                                                                  true, true,
-                                                                  true,
-                                                                  false)),
-                                                                  (String
-                                                                  ((Ascii
-                                                                  (true,
-                                                                  false,
-                                                                  true, true,
-                                                                  false,
-                                                                  true, true,
-                                                                  false)),
-                                                                  (String
-                                                                  ((Ascii
-                                                                  (false,
-                                                                  true, true,
-                                                                  false,
-                                                                  false,
-                                                                  false,
-                                                                  true,
-                                                                  false)),
-                                                                  (String
-                                                                  ((Ascii
-                                                                  (true,
-                                                                  false,
-                                                                  false,
-                                                                  true,
-                                                                  false,
-                                                                  true, true,
-                                                                  false)),
-                                                                  (String
-                                                                  ((Ascii
-                                                                  (true,
-                                                                  false,
-                                                                  true,
-                                                                  false,
-                                                                  false,
-                                                                  true, true,
-                                                                  false)),
-                                                                  (String
-                                                                  ((Ascii
-                                                                  (false,
-                                                                  false,
-                                                                  true, true,
-                                                                  false,
-                                                                  true, true,
-                                                                  false)),
-                                                                  (String
-                                                                  ((Ascii
-                                                                  (false,
-                                                                  false,
-                                                                  true,
-                                                                  false,
-                                                                  false,
-                                                                  true, true,
-                                                                  false)),
-                                                                  EmptyString)))))))))))))))))))))))))) :: [])) :: (
-    (mkcut (S (S (S (S (S (S (S (S (S (S (S (S (S (S (S (S (S (S (S (S (S (S
-      (S (S (S (S (S (S (S (S (S (S (S (S (S (S (S (S (S (S (S (S (S (S (S (S
-      (S (S (S (S (S (S (S (S (S (S (S (S (S (S (S (S (S (S (S (S (S (S (S (S
-      (S (S (S (S (S (S (S (S (S (S (S (S (S (S (S (S (S
-      O)))))))))))))))))))))))))))))))))))))))))))))))))))))))))))))))))))))))))))))))))))))))
-      (S (S (S (S (S (S (S (S (S (S (S (S (S (S (S (S (S (S (S (S (S (S (S (S
-      (S (S (S (S (S (S (S (S (S (S (S (S (S (S (S (S (S (S (S (S (S (S (S (S
-      (S (S (S (S (S (S (S (S (S (S (S (S (S (S (S (S (S (S (S (S (S (S (S (S
-      (S (S (S (S (S (S (S (S (S (S (S (S (S (S (S (S (S (S (S (S (S (S
-      O))))))))))))))))))))))))))))))))))))))))))))))))))))))))))))))))))))))))))))))))))))))))))))))
-      (String ((Ascii (true, false, true, false, false, false, true, false)),
-      (String ((Ascii (false, true, true, true, false, true, true, false)),
-      (String ((Ascii (false, false, true, false, true, true, true, false)),
-      (String ((Ascii (false, true, false, false, true, true, true, false)),
-      (String ((Ascii (true, false, false, true, true, true, true, false)),
-      (String ((Ascii (false, false, true, false, false, false, true,
-      false)), (String ((Ascii (true, false, true, false, false, true, true,
-      false)), (String ((Ascii (false, false, true, false, true, true, true,
-      false)), (String ((Ascii (true, false, false, false, false, true, true,
-      false)), (String ((Ascii (true, false, false, true, false, true, true,
-      false)), (String ((Ascii (false, false, true, true, false, true, true,
-      false)), (String ((Ascii (true, true, false, false, true, false, true,
-      false)), (String ((Ascii (true, false, true, false, false, true, true,
-      false)), (String ((Ascii (true, false, false, false, true, true, true,
-      false)), (String ((Ascii (true, false, true, false, true, true, true,
-      false)), (String ((Ascii (true, false, true, false, false, true, true,
-      false)), (String ((Ascii (false, true, true, true, false, true, true,
-      false)), (String ((Ascii (true, true, false, false, false, true, true,
-      false)), (String ((Ascii (true, false, true, false, false, true, true,
-      false)), (String ((Ascii (false, true, true, true, false, false, true,
-      false)), (String ((Ascii (true, false, true, false, true, true, true,
-      false)), (String ((Ascii (true, false, true, true, false, true, true,
-      false)), (String ((Ascii (false, true, false, false, false, true, true,
-      false)), (String ((Ascii (true, false, true, false, false, true, true,
-      false)), (String ((Ascii (false, true, false, false, true, true, true,
-      false)), EmptyString))))))))))))))))))))))))))))))))))))))))))))))))))
-      ((String ((Ascii (false, false, false, false, true, true, true,
-      false)), (String ((Ascii (true, false, false, false, false, true, true,
-      false)), (String ((Ascii (false, true, false, false, true, true, true,
-      false)), (String ((Ascii (true, true, false, false, true, true, true,
-      false)), (String ((Ascii (true, false, true, false, false, true, true,
-      false)), (String ((Ascii (false, true, true, true, false, false, true,
-      false)), (String ((Ascii (true, false, true, false, true, true, true,
-      false)), (String ((Ascii (true, false, true, true, false, true, true,
-      false)), (String ((Ascii (false, true, true, false, false, false, true,
-      false)), (String ((Ascii (true, false, false, true, false, true, true,
-      false)), (String ((Ascii (true, false, true, false, false, true, true,
-      false)), (String ((Ascii (false, false, true, true, false, true, true,
-      false)), (String ((Ascii (false, false, true, false, false, true, true,
-      false)), EmptyString)))))))))))))))))))))))))) :: [])) :: []))))) }
-
-(** val l_Addenda18 : layout **)
-
-let l_Addenda18 =
-  { l_name = (String ((Ascii (true, false, false, false, false, false, true,
-    false)), (String ((Ascii (false, false, true, false, false, true, true,
-    false)), (String ((Ascii (false, false, true, false, false, true, true,
-    false)), (String ((Ascii (true, false, true, false, false, true, true,
-    false)), (String ((Ascii (false, true, true, true, false, true, true,
-    false)), (String ((Ascii (false, false, true, false, false, true, true,
-    false)), (String ((Ascii (true, false, false, false, false, true, true,
-    false)), (String ((Ascii (true, false, false, false, true, true, false,
-    false)), (String ((Ascii (false, false, false, true, true, true, false,
-    false)), EmptyString)))))))))))))))))); l_ix = IRune; l_segs = ((SLit
-    ((Npos (XI (XI (XI (XO (XI XH)))))) :: [])) :: ((SRaw (String ((Ascii
-    (false, false, true, false, true, false, true, false)), (String ((Ascii
-    (true, false, false, true, true, true, true, false)), (String ((Ascii
-    (false, false, false, false, true, true, true, false)), (String ((Ascii
-    (true, false, true, false, false, true, true, false)), (String ((Ascii
-    (true, true, false, false, false, false, true, false)), (String ((Ascii
-    (true, true, true, true, false, true, true, false)), (String ((Ascii
-    (false, false, true, false, false, true, true, false)), (String ((Ascii
-    (true, false, true, false, false, true, true, false)),
-    EmptyString))))))))))))))))) :: ((SAlpha ((String ((Ascii (false, true,
-    true, false, false, false, true, false)), (String ((Ascii (true, true,
-    true, true, false, true, true, false)), (String ((Ascii (false, true,
-    false, false, true, true, true, false)), (String ((Ascii (true, false,
-    true, false, false, true, true, false)), (String ((Ascii (true, false,
-    false, true, false, true, true, false)), (String ((Ascii (true, true,
-    true, false, false, true, true, false)), (String ((Ascii (false, true,
-    true, true, false, true, true, false)), (String ((Ascii (true, true,
-    false, false, false, false, true, false)), (String ((Ascii (true, true,
-    true, true, false, true, true, false)), (String ((Ascii (false, true,
-    false, false, true, true, true, false)), (String ((Ascii (false, true,
-    false, false, true, true, true, false)), (String ((Ascii (true, false,
-    true, false, false, true, true, false)), (String ((Ascii (true, true,
-    false, false, true, true, true, false)), (String ((Ascii (false, false,
-    false, false, true, true, true, false)), (String ((Ascii (true, true,
-    true, true, false, true, true, false)), (String ((Ascii (false, true,
-    true, true, false, true, true, false)), (String ((Ascii (false, false,
-    true, false, false, true, true, false)), (String ((Ascii (true, false,
-    true, false, false, true, true, false)), (String ((Ascii (false, true,
-    true, true, false, true, true, false)), (String ((Ascii (false, false,
-    true, false, true, true, true, false)), (String ((Ascii (false, true,
-    false, false, false, false, true, false)), (String ((Ascii (true, false,
-    false, false, false, true, true, false)), (String ((Ascii (false, true,
-    true, true, false, true, true, false)), (String ((Ascii (true, true,
-    false, true, false, true, true, false)), (String ((Ascii (false, true,
-    true, true, false, false, true, false)), (String ((Ascii (true, false,
-    false, false, false, true, true, false)), (String ((Ascii (true, false,
-    true, true, false, true, true, false)), (String ((Ascii (true, false,
-    true, false, false, true, true, false)),
-    EmptyString)))))))))))))))))))))))))))))))))))))))))))))))))))))))), (S
-    (S (S (S (S (S (S (S (S (S (S (S (S (S (S (S (S (S (S (S (S (S (S (S (S
-    (S (S (S (S (S (S (S (S (S (S
-    O))))))))))))))))))))))))))))))))))))) :: ((SAlpha ((String ((Ascii
-    (false, true, true, false, false, false, true, false)), (String ((Ascii
-    (true, true, true, true, false, true, true, false)), (String ((Ascii
-    (false, true, false, false, true, true, true, false)), (String ((Ascii
-    (true, false, true, false, false, true, true, false)), (String ((Ascii
-    (true, false, false, true, false, true, true, false)), (String ((Ascii
-    (true, true, true, false, false, true, true, false)), (String ((Ascii
-    (false, true, true, true, false, true, true, false)), (String ((Ascii
-    (true, true, false, false, false, false, true, false)), (String ((Ascii
-    (true, true, true, true, false, true, true, false)), (String ((Ascii
-    (false, true, false, false, true, true, true, false)), (String ((Ascii
-    (false, true, false, false, true, true, true, false)), (String ((Ascii
-    (true, false, true, false, false, true, true, false)), (String ((Ascii
-    (true, true, false, false, true, true, true, false)), (String ((Ascii
-    (false, false, false, false, true, true, true, false)), (String ((Ascii
-    (true, true, true, true, false, true, true, false)), (String ((Ascii
-    (false, true, true, true, false, true, true, false)), (String ((Ascii
-    (false, false, true, false, false, true, true, false)), (String ((Ascii
-    (true, false, true, false, false, true, true, false)), (String ((Ascii
-    (false, true, true, true, false, true, true, false)), (String ((Ascii
-    (false, false, true, false, true, true, true, false)), (String ((Ascii
-    (false, true, false, false, false, false, true, false)), (String ((Ascii
-    (true, false, false, false, false, true, true, false)), (String ((Ascii
-    (false, true, true, true, false, true, true, false)), (String ((Ascii
-    (true, true, false, true, false, true, true, false)), (String ((Ascii
-    (true, false, false, true, false, false, true, false)), (String ((Ascii
-    (false, false, true, false, false, false, true, false)), (String ((Ascii
-    (false, true, true, true, false, false, true, false)), (String ((Ascii
-    (true, false, true, false, true, true, true, false)), (String ((Ascii
-    (true, false, true, true, false, true, true, false)), (String ((Ascii
-    (false, true, false, false, false, true, true, false)), (String ((Ascii
-    (true, false, true, false, false, true, true, false)), (String ((Ascii
-    (false, true, false, false, true, true, true, false)), (String ((Ascii
-    (true, false, false, false, true, false, true, false)), (String ((Ascii
-    (true, false, true, false, true, true, true, false)), (String ((Ascii
-    (true, false, false, false, false, true, true, false)), (String ((Ascii
-    (false, false, true, true, false, true, true, false)), (String ((Ascii
-    (true, false, false, true, false, true, true, false)), (String ((Ascii
-    (false, true, true, false, false, true, true, false)), (String ((Ascii
-    (true, false, false, true, false, true, true, false)), (String ((Ascii
-    (true, false, true, false, false, true, true, false)), (String ((Ascii
-    (false, true, false, false, true, true, true, false)),
-    EmptyString)))))))))))))))))))))))))))))))))))))))))))))))))))))))))))))))))))))))))))))))))),
-    (S (S O)))) :: ((SAlpha ((String ((Ascii (false, true, true, false,
-    false, false, true, false)), (String ((Ascii (true, true, true, true,
-    false, true, true, false)), (String ((Ascii (false, true, false, false,
-    true, true, true, false)), (String ((Ascii (true, false, true, false,
-    false, true, true, false)), (String ((Ascii (true, false, false, true,
-    false, true, true, false)), (String ((Ascii (true, true, true, false,
-    false, true, true, false)), (String ((Ascii (false, true, true, true,
-    false, true, true, false)), (String ((Ascii (true, true, false, false,
-    false, false, true, false)), (String ((Ascii (true, true, true, true,
-    false, true, true, false)), (String ((Ascii (false, true, false, false,
-    true, true, true, false)), (String ((Ascii (false, true, false, false,
-    true, true, true, false)), (String ((Ascii (true, false, true, false,
-    false, true, true, false)), (String ((Ascii (true, true, false, false,
-    true, true, true, false)), (String ((Ascii (false, false, false, false,
-    true, true, true, false)), (String ((Ascii (true, true, true, true,
-    false, true, true, false)), (String ((Ascii (false, true, true, true,
-    false, true, true, false)), (String ((Ascii (false, false, true, false,
-    false, true, true, false)), (String ((Ascii (true, false, true, false,
-    false, true, true, false)), (String ((Ascii (false, true, true, true,
-    false, true, true, false)), (String ((Ascii (false, false, true, false,
-    true, true, true, false)), (String ((Ascii (false, true, false, false,
-    false, false, true, false)), (String ((Ascii (true, false, false, false,
-    false, true, true, false)), (String ((Ascii (false, true, true, true,
-    false, true, true, false)), (String ((Ascii (true, true, false, true,
-    false, true, true, false)), (String ((Ascii (true, false, false, true,
-    false, false, true, false)), (String ((Ascii (false, false, true, false,
-    false, false, true, false)), (String ((Ascii (false, true, true, true,
-    false, false, true, false)), (String ((Ascii (true, false, true, false,
-    true, true, true, false)), (String ((Ascii (true, false, true, true,
-    false, true, true, false)), (String ((Ascii (false, true, false, false,
-    false, true, true, false)), (String ((Ascii (true, false, true, false,
-    false, true, true, false)), (String ((Ascii (false, true, false, false,
-    true, true, true, false)),
-    EmptyString)))))))))))))))))))))))))))))))))))))))))))))))))))))))))))))))),
-    (S (S (S (S (S (S (S (S (S (S (S (S (S (S (S (S (S (S (S (S (S (S (S (S
-    (S (S (S (S (S (S (S (S (S (S
-    O)))))))))))))))))))))))))))))))))))) :: ((SAlpha ((String ((Ascii
-    (false, true, true, false, false, false, true, false)), (String ((Ascii
-    (true, true, true, true, false, true, true, false)), (String ((Ascii
-    (false, true, false, false, true, true, true, false)), (String ((Ascii
-    (true, false, true, false, false, true, true, false)), (String ((Ascii
-    (true, false, false, true, false, true, true, false)), (String ((Ascii
-    (true, true, true, false, false, true, true, false)), (String ((Ascii
-    (false, true, true, true, false, true, true, false)), (String ((Ascii
-    (true, true, false, false, false, false, true, false)), (String ((Ascii
-    (true, true, true, true, false, true, true, false)), (String ((Ascii
-    (false, true, false, false, true, true, true, false)), (String ((Ascii
-    (false, true, false, false, true, true, true, false)), (String ((Ascii
-    (true, false, true, false, false, true, true, false)), (String ((Ascii
-    (true, true, false, false, true, true, true, false)), (String ((Ascii
-    (false, false, false, false, true, true, true, false)), (String ((Ascii
-    (true, true, true, true, false, true, true, false)), (String ((Ascii
-    (false, true, true, true, false, true, true, false)), (String ((Ascii
-    (false, false, true, false, false, true, true, false)), (String ((Ascii
-    (true, false, true, false, false, true, true, false)), (String ((Ascii
-    (false, true, true, true, false, true, true, false)), (String ((Ascii
-    (false, false, true, false, true, true, true, false)), (String ((Ascii
-    (false, true, false, false, false, false, true, false)), (String ((Ascii
-    (true, false, false, false, false, true, true, false)), (String ((Ascii
-    (false, true, true, true, false, true, true, false)), (String ((Ascii
-    (true, true, false, true, false, true, true, false)), (String ((Ascii
-    (false, true, false, false, false, false, true, false)), (String ((Ascii
-    (false, true, false, false, true, true, true, false)), (String ((Ascii
-    (true, false, false, false, false, true, true, false)), (String ((Ascii
-    (false, true, true, true, false, true, true, false)), (String ((Ascii
-    (true, true, false, false, false, true, true, false)), (String ((Ascii
-    (false, false, false, true, false, true, true, false)), (String ((Ascii
-    (true, true, false, false, false, false, true, false)), (String ((Ascii
-    (true, true, true, true, false, true, true, false)), (String ((Ascii
-    (true, false, true, false, true, true, true, false)), (String ((Ascii
-    (false, true, true, true, false, true, true, false)), (String ((Ascii
-    (false, false, true, false, true, true, true, false)), (String ((Ascii
-    (false, true, false, false, true, true, true, false)), (String ((Ascii
-    (true, false, false, true, true, true, true, false)), (String ((Ascii
-    (true, true, false, false, false, false, true, false)), (String ((Ascii
-    (true, true, true, true, false, true, true, false)), (String ((Ascii
-    (false, false, true, false, false, true, true, false)), (String ((Ascii
-    (true, false, true, false, false, true, true, false)),
-    EmptyString)))))))))))))))))))))))))))))))))))))))))))))))))))))))))))))))))))))))))))))))))),
-    (S (S (S O))))) :: ((SLit ((Npos (XO (XO (XO (XO (XO XH)))))) :: ((Npos
-    (XO (XO (XO (XO (XO XH)))))) :: ((Npos (XO (XO (XO (XO (XO
-    XH)))))) :: ((Npos (XO (XO (XO (XO (XO XH)))))) :: ((Npos (XO (XO (XO (XO
-    (XO XH)))))) :: ((Npos (XO (XO (XO (XO (XO
-    XH)))))) :: []))))))) :: ((SNum ((String ((Ascii (true, true, false,
-    false, true, false, true, false)), (String ((Ascii (true, false, true,
+    (String ((Ascii (false, false, false, true, true, true, true, false)),
+    EmptyString)))))) } :: ({ s_func = (String ((Ascii (true, false, false,
+    false, true, true, true, false)), (String ((Ascii (true, false, true,
+    false, true, true, true, false)), (String ((Ascii (true, false, true,
+    false, false, true, true, false)), (String ((Ascii (true, false, true,
+    false, true, true, true, false)), (String ((Ascii (true, false, true,
+    false, false, true, true, false)), (String ((Ascii (false, true, true,
+    false, false, false, true, false)), (String ((Ascii (true, false, false,
+    true, false, true, true, false)), (String ((Ascii (false, false, true,
+    true, false, true, true, false)), (String ((Ascii (true, false, true,
+    false, false, true, true, false)), (String ((Ascii (false, true, true,
+    false, false, false, true, false)), (String ((Ascii (true, true, true,
+    true, false, true, true, false)), (String ((Ascii (false, true, false,
+    false, true, true, true, false)), (String ((Ascii (true, false, true,
+    true, false, false, true, false)), (String ((Ascii (true, false, true,
+    false, false, true, true, false)), (String ((Ascii (false, true, false,
+    false, true, true, true, false)), (String ((Ascii (true, true, true,
     false, false, true, true, false)), (String ((Ascii (true, false, false,
-    false, true, true, true, false)), (String ((Ascii (true, false, true,
-    false, true, true, true, false)), (String ((Ascii (true, false, true,
-    false, false, true, true, false)), (String ((Ascii (false, true, true,
-    true, false, true, true, false)), (String ((Ascii (true, true, false,
-    false, false, true, true, false)), (String ((Ascii (true, false, true,
-    false, false, true, true, false)), (String ((Ascii (false, true, true,
-    true, false, false, true, false)), (String ((Ascii (true, false, true,
-    false, true, true, true, false)), (String ((Ascii (true, false, true,
-    true, false, true, true, false)), (String ((Ascii (false, true, false,
-    false, false, true, true, false)), (String ((Ascii (true, false, true,
-    false, false, true, true, false)), (String ((Ascii (false, true, false,
-    false, true, true, true, false)),
-    EmptyString)))))))))))))))))))))))))))), (S (S (S (S O)))))) :: ((SNum
-    ((String ((Ascii (true, false, true, false, false, false, true, false)),
-    (String ((Ascii (false, true, true, true, false, true, true, false)),
-    (String ((Ascii (false, false, true, false, true, true, true, false)),
-    (String ((Ascii (false, true, false, false, true, true, true, false)),
-    (String ((Ascii (true, false, false, true, true, true, true, false)),
-    (String ((Ascii (false, false, true, false, false, false, true, false)),
-    (String ((Ascii (true, false, true, false, false, true, true, false)),
-    (String ((Ascii (false, false, true, false, true, true, true, false)),
-    (String ((Ascii (true, false, false, false, false, true, true, false)),
-    (String ((Ascii (true, false, false, true, false, true, true, false)),
-    (String ((Ascii (false, false, true, true, false, true, true, false)),
-    (String ((Ascii (true, true, false, false, true, false, true, false)),
-    (String ((Ascii (true, false, true, false, false, true, true, false)),
-    (String ((Ascii (true, false, false, false, true, true, true, false)),
-    (String ((Ascii (true, false, true, false, true, true, true, false)),
-    (String ((Ascii (true, false, true, false, false, true, true, false)),
-    (String ((Ascii (false, true, true, true, false, true, true, false)),
-    (String ((Ascii (true, true, false, false, false, true, true, false)),
-    (String ((Ascii (true, false, true, false, false, true, true, false)),
-    (String ((Ascii (false, true, true, true, false, false, true, false)),
-    (String ((Ascii (true, false, true, false, true, true, true, false)),
-    (String ((Ascii (true, false, true, true, false, true, true, false)),
-    (String ((Ascii (false, true, false, false, false, true, true, false)),
-    (String ((Ascii (true, false, true, false, false, true, true, false)),
-    (String ((Ascii (false, true, false, false, true, true, true, false)),
-    EmptyString)))))))))))))))))))))))))))))))))))))))))))))))))), (S (S (S
-    (S (S (S (S O))))))))) :: []))))))))); l_cuts =
-    ((mkcut O (S O) EmptyString []) :: ((mkcut (S O) (S (S (S O))) (String
-                                          ((Ascii (false, false, true, false,
-                                          true, false, true, false)), (String
-                                          ((Ascii (true, false, false, true,
-                                          true, true, true, false)), (String
-                                          ((Ascii (false, false, false,
-                                          false, true, true, true, false)),
-                                          (String ((Ascii (true, false, true,
-                                          false, false, true, true, false)),
-                                          (String ((Ascii (true, true, false,
-                                          false, false, false, true, false)),
-                                          (String ((Ascii (true, true, true,
-                                          true, false, true, true, false)),
-                                          (String ((Ascii (false, false,
-                                          true, false, false, true, true,
-                                          false)), (String ((Ascii (true,
-                                          false, true, false, false, true,
-                                          true, false)),
-                                          EmptyString)))))))))))))))) []) :: (
-    (mkcut (S (S (S O))) (S (S (S (S (S (S (S (S (S (S (S (S (S (S (S (S (S
-      (S (S (S (S (S (S (S (S (S (S (S (S (S (S (S (S (S (S (S (S (S
-      O)))))))))))))))))))))))))))))))))))))) (String ((Ascii (false, true,
-      true, false, false, false, true, false)), (String ((Ascii (true, true,
-      true, true, false, true, true, false)), (String ((Ascii (false, true,
-      false, false, true, true, true, false)), (String ((Ascii (true, false,
-      true, false, false, true, true, false)), (String ((Ascii (true, false,
-      false, true, false, true, true, false)), (String ((Ascii (true, true,
-      true, false, false, true, true, false)), (String ((Ascii (false, true,
-      true, true, false, true, true, false)), (String ((Ascii (true, true,
-      false, false, false, false, true, false)), (String ((Ascii (true, true,
-      true, true, false, true, true, false)), (String ((Ascii (false, true,
-      false, false, true, true, true, false)), (String ((Ascii (false, true,
-      false, false, true, true, true, false)), (String ((Ascii (true, false,
-      true, false, false, true, true, false)), (String ((Ascii (true, true,
-      false, false, true, true, true, false)), (String ((Ascii (false, false,
-      false, false, true, true, true, false)), (String ((Ascii (true, true,
-      true, true, false, true, true, false)), (String ((Ascii (false, true,
-      true, true, false, true, true, false)), (String ((Ascii (false, false,
-      true, false, false, true, true, false)), (String ((Ascii (true, false,
-      true, false, false, true, true, false)), (String ((Ascii (false, true,
-      true, true, false, true, true, false)), (String ((Ascii (false, false,
-      true, false, true, true, true, false)), (String ((Ascii (false, true,
-      false, false, false, false, true, false)), (String ((Ascii (true,
-      false, false, false, false, true, true, false)), (String ((Ascii
-      (false, true, true, true, false, true, true, false)), (String ((Ascii
-      (true, true, false, true, false, true, true, false)), (String ((Ascii
-      (false, true, true, true, false, false, true, false)), (String ((Ascii
-      (true, false, false, false, false, true, true, false)), (String ((Ascii
-      (true, false, true, true, false, true, true, false)), (String ((Ascii
-      (true, false, true, false, false, true, true, false)),
-      EmptyString))))))))))))))))))))))))))))))))))))))))))))))))))))))))
-      ((String ((Ascii (true, true, false, false, true, true, true, false)),
-      (String ((Ascii (false, false, true, false, true, true, true, false)),
-      (String ((Ascii (false, true, false, false, true, true, true, false)),
-      (String ((Ascii (true, false, false, true, false, true, true, false)),
-      (String ((Ascii (false, true, true, true, false, true, true, false)),
-      (String ((Ascii (true, true, true, false, false, true, true, false)),
-      (String ((Ascii (true, true, false, false, true, true, true, false)),
-      (String ((Ascii (false, true, true, true, false, true, false, false)),
-      (String ((Ascii (false, false, true, false, true, false, true, false)),
-      (String ((Ascii (false, true, false, false, true, true, true, false)),
-      (String ((Ascii (true, false, false, true, false, true, true, false)),
-      (String ((Ascii (true, false, true, true, false, true, true, false)),
-      (String ((Ascii (true, true, false, false, true, false, true, false)),
-      (String ((Ascii (false, false, false, false, true, true, true, false)),
-      (String ((Ascii (true, false, false, false, false, true, true, false)),
-      (String ((Ascii (true, true, false, false, false, true, true, false)),
-      (String ((Ascii (true, false, true, false, false, true, true, false)),
-      EmptyString)))))))))))))))))))))))))))))))))) :: [])) :: ((mkcut (S (S
-                                                                  (S (S (S (S
-                                                                  (S (S (S (S
-                                                                  (S (S (S (S
-                                                                  (S (S (S (S
-                                                                  (S (S (S (S
-                                                                  (S (S (S (S
-                                                                  (S (S (S (S
-                                                                  (S (S (S (S
-                                                                  (S (S (S (S
-                                                                  O))))))))))))))))))))))))))))))))))))))
-                                                                  (S (S (S (S
-                                                                  (S (S (S (S
-                                                                  (S (S (S (S
-                                                                  (S (S (S (S
-                                                                  (S (S (S (S
-                                                                  (S (S (S (S
-                                                                  (S (S (S (S
-                                                                  (S (S (S (S
-                                                                  (S (S (S (S
-                                                                  (S (S (S (S
-                                                                  O))))))))))))))))))))))))))))))))))))))))
-                                                                  (String
-                                                                  ((Ascii
-                                                                  (false,
-                                                                  true, true,
-                                                                  false,
-                                                                  false,
-                                                                  false,
-                                                                  true,
-                                                                  false)),
-                                                                  (String
-                                                                  ((Ascii
-                                                                  (true,
-                                                                  true, true,
-                                                                  true,
-                                                                  false,
-                                                                  true, true,
-                                                                  false)),
-                                                                  (String
-                                                                  ((Ascii
-                                                                  (false,
-                                                                  true,
-                                                                  false,
-                                                                  false,
-                                                                  true, true,
-                                                                  true,
-                                                                  false)),
-                                                                  (String
-                                                                  ((Ascii
-                                                                  (true,
-                                                                  false,
-                                                                  true,
-                                                                  false,
-                                                                  false,
-                                                                  true, true,
-                                                                  false)),
-                                                                  (String
-                                                                  ((Ascii
-                                                                  (true,
-                                                                  false,
-                                                                  false,
-                                                                  true,
-                                                                  false,
-                                                                  true, true,
-                                                                  false)),
-                                                                  (String
-                                                                  ((Ascii
-                                                                  (true,
-                                                                  true, true,
-                                                                  false,
-                                                                  false,
-                                                                  true, true,
-                                                                  false)),
-                                                                  (String
-                                                                  ((Ascii
-                                                                  (false,
-                                                                  true, true,
-                                                                  true,
-                                                                  false,
-                                                                  true, true,
-                                                                  false)),
-                                                                  (String
-                                                                  ((Ascii
-                                                                  (true,
-                                                                  true,
-                                                                  false,
-                                                                  false,
-                                                                  false,
-                                                                  false,
-                                                                  true,
-                                                                  false)),
-                                                                  (String
-                                                                  ((Ascii
-                                                                  (true,
-                                                                  true, true,
-                                                                  true,
-                                                                  false,
-                                                                  true, true,
-                                                                  false)),
-                                                                  (String
-                                                                  ((Ascii
-                                                                  (false,
-                                                                  true,
-                                                                  false,
-                                                                  false,
-                                                                  true, true,
-                                                                  true,
-                                                                  false)),
-                                                                  (String
-                                                                  ((Ascii
-                                                                  (false,
-                                                                  true,
-                                                                  false,
-                                                                  false,
-                                                                  true, true,
-                                                                  true,
-                                                                  false)),
-                                                                  (String
-                                                                  ((Ascii
-                                                                  (true,
-                                                                  false,
-                                                                  true,
-                                                                  false,
-                                                                  false,
-                                                                  true, true,
-                                                                  false)),
-                                                                  (String
-                                                                  ((Ascii
-                                                                  (true,
-                                                                  true,
-                                                                  false,
-                                                                  false,
-                                                                  true, true,
-                                                                  true,
-                                                                  false)),
-                                                                  (String
-                                                                  ((Ascii
-                                                                  (false,
-                                                                  false,
-                                                                  false,
-                                                                  false,
-                                                                  true, true,
-                                                                  true,
-                                                                  false)),
-                                                                  (String
-                                                                  ((Ascii
-                                                                  (true,
-                                                                  true, true,
-                                                                  true,
-                                                                  false,
-                                                                  true, true,
-                                                                  false)),
-                                                                  (String
-                                                                  ((Ascii
-                                                                  (false,
-                                                                  true, true,
-                                                                  true,
-                                                                  false,
-                                                                  true, true,
-                                                                  false)),
-                                                                  (String
-                                                                  ((Ascii
-                                                                  (false,
-                                                                  false,
-                                                                  true,
-                                                                  false,
-                                                                  false,
-                                                                  true, true,
-                                                                  false)),
-                                                                  (String
-                                                                  ((Ascii
-                                                                  (true,
-                                                                  false,
-                                                                  true,
-                                                                  false,
-                                                                  false,
-                                                                  true, true,
-                                                                  false)),
-                                                                  (String
-                                                                  ((Ascii
-                                                                  (false,
-                                                                  true, true,
-                                                                  true,
-                                                                  false,
-                                                                  true, true,
-                                                                  false)),
-                                                                  (String
-                                                                  ((Ascii
-                                                                  (false,
-                                                                  false,
-                                                                  true,
-                                                                  false,
-                                                                  true, true,
-                                                                  true,
-                                                                  false)),
-                                                                  (String
-                                                                  ((Ascii
-                                                                  (false,
-                                                                  true,
-                                                                  false,
-                                                                  false,
-                                                                  false,
-                                                                  false,
-                                                                  true,
-                                                                  false)),
-                                                                  (String
-                                                                  ((Ascii
-                                                                  (true,
-                                                                  false,
-                                                                  false,
-                                                                  false,
-                                                                  false,
-                                                                  true, true,
-                                                                  false)),
-                                                                  (String
-                                                                  ((Ascii
-                                                                  (false,
-                                                                  true, true,
-                                                                  true,
-                                                                  false,
-                                                                  true, true,
-                                                                  false)),
-                                                                  (String
-                                                                  ((Ascii
-                                                                  (true,
-                                                                  true,
-                                                                  false,
-                                                                  true,
-                                                                  false,
-                                                                  true, true,
-                                                                  false)),
-                                                                  (String
-                                                                  ((Ascii
-                                                                  (true,
-                                                                  false,
-                                                                  false,
-                                                                  true,
-                                                                  false,
-                                                                  false,
-                                                                  true,
-                                                                  false)),
-                                                                  (String
-                                                                  ((Ascii
-                                                                  (false,
-                                                                  false,
-                                                                  true,
-                                                                  false,
-                                                                  false,
-                                                                  false,
-                                                                  true,
-                                                                  false)),
-                                                                  (String
-                                                                  ((Ascii
-                                                                  (false,
-                                                                  true, true,
-                                                                  true,
-                                                                  false,
-                                                                  false,
-                                                                  true,
-                                                                  false)),
-                                                                  (String
-                                                                  ((Ascii
-                                                                  (true,
-                                                                  false,
-                                                                  true,
-                                                                  false,
-                                                                  true, true,
-                                                                  true,
-                                                                  false)),
-                                                                  (String
-                                                                  ((Ascii
-                                                                  (true,
-                                                                  false,
-                                                                  true, true,
-                                                                  false,
-                                                                  true, true,
-                                                                  false)),
-                                                                  (String
-                                                                  ((Ascii
-                                                                  (false,
-                                                                  true,
-                                                                  false,
-                                                                  false,
-                                                                  false,
-                                                                  true, true,
-                                                                  false)),
-                                                                  (String
-                                                                  ((Ascii
-                                                                  (true,
-                                                                  false,
-                                                                  true,
-                                                                  false,
-                                                                  false,
-                                                                  true, true,
-                                                                  false)),
-                                                                  (String
-                                                                  ((Ascii
-                                                                  (false,
-                                                                  true,
-                                                                  false,
-                                                                  false,
-                                                                  true, true,
-                                                                  true,
-                                                                  false)),
-                                                                  (String
-                                                                  ((Ascii
-                                                                  (true,
-                                                                  false,
-                                                                  false,
-                                                                  false,
-                                                                  true,
-                                                                  false,
-                                                                  true,
-                                                                  false)),
-                                                                  (String
-                                                                  ((Ascii
-                                                                  (true,
-                                                                  false,
-                                                                  true,
-                                                                  false,
-                                                                  true, true,
-                                                                  true,
-                                                                  false)),
-                                                                  (String
-                                                                  ((Ascii
-                                                                  (true,
-                                                                  false,
-                                                                  false,
-                                                                  false,
-                                                                  false,
-                                                                  true, true,
-                                                                  false)),
-                                                                  (String
-                                                                  ((Ascii
-                                                                  (false,
-                                                                  false,
-                                                                  true, true,
-                                                                  false,
-                                                                  true, true,
-                                                                  false)),
-                                                                  (String
-                                                                  ((Ascii
-                                                                  (true,
-                                                                  false,
-                                                                  false,
-                                                                  true,
-                                                                  false,
-                                                                  true, true,
-                                                                  false)),
-                                                                  (String
-                                                                  ((Ascii
-                                                                  (false,
-                                                                  true, true,
-                                                                  false,
-                                                                  false,
-                                                                  true, true,
-                                                                  false)),
-                                                                  (String
-                                                                  ((Ascii
-                                                                  (true,
-                                                                  false,
-                                                                  false,
-                                                                  true,
-                                                                  false,
-                                                                  true, true,
-                                                                  false)),
-                                                                  (String
-                                                                  ((Ascii
-                                                                  (true,
-                                                                  false,
-                                                                  true,
-                                                                  false,
-                                                                  false,
-                                                                  true, true,
-                                                                  false)),
-                                                                  (String
-                                                                  ((Ascii
-                                                                  (false,
-                                                                  true,
-                                                                  false,
-                                                                  false,
-                                                                  true, true,
-                                                                  true,
-                                                                  false)),
-                                                                  EmptyString))))))))))))))))))))))))))))))))))))))))))))))))))))))))))))))))))))))))))))))))))
-                                                                  []) :: (
-    (mkcut (S (S (S (S (S (S (S (S (S (S (S (S (S (S (S (S (S (S (S (S (S (S
-      (S (S (S (S (S (S (S (S (S (S (S (S (S (S (S (S (S (S
-      O)))))))))))))))))))))))))))))))))))))))) (S (S (S (S (S (S (S (S (S (S
-      (S (S (S (S (S (S (S (S (S (S (S (S (S (S (S (S (S (S (S (S (S (S (S (S
-      (S (S (S (S (S (S (S (S (S (S (S (S (S (S (S (S (S (S (S (S (S (S (S (S
-      (S (S (S (S (S (S (S (S (S (S (S (S (S (S (S (S
-      O))))))))))))))))))))))))))))))))))))))))))))))))))))))))))))))))))))))))))
-      (String ((Ascii (false, true, true, false, false, false, true, false)),
-      (String ((Ascii (true, true, true, true, false, true, true, false)),
-      (String ((Ascii (false, true, false, false, true, true, true, false)),
-      (String ((Ascii (true, false, true, false, false, true, true, false)),
-      (String ((Ascii (true, false, false, true, false, true, true, false)),
-      (String ((Ascii (true, true, true, false, false, true, true, false)),
-      (String ((Ascii (false, true, true, true, false, true, true, false)),
-      (String ((Ascii (true, true, false, false, false, false, true, false)),
-      (String ((Ascii (true, true, true, true, false, true, true, false)),
-      (String ((Ascii (false, true, false, false, true, true, true, false)),
-      (String ((Ascii (false, true, false, false, true, true, true, false)),
-      (String ((Ascii (true, false, true, false, false, true, true, false)),
-      (String ((Ascii (true, true, false, false, true, true, true, false)),
-      (String ((Ascii (false, false, false, false, true, true, true, false)),
-      (String ((Ascii (true, true, true, true, false, true, true, false)),
-      (String ((Ascii (false, true, true, true, false, true, true, false)),
-      (String ((Ascii (false, false, true, false, false, true, true, false)),
-      (String ((Ascii (true, false, true, false, false, true, true, false)),
-      (String ((Ascii (false, true, true, true, false, true, true, false)),
-      (String ((Ascii (false, false, true, false, true, true, true, false)),
-      (String ((Ascii (false, true, false, false, false, false, true,
-      false)), (String ((Ascii (true, false, false, false, false, true, true,
-      false)), (String ((Ascii (false, true, true, true, false, true, true,
-      false)), (String ((Ascii (true, true, false, true, false, true, true,
-      false)), (String ((Ascii (true, false, false, true, false, false, true,
-      false)), (String ((Ascii (false, false, true, false, false, false,
-      true, false)), (String ((Ascii (false, true, true, true, false, false,
-      true, false)), (String ((Ascii (true, false, true, false, true, true,
-      true, false)), (String ((Ascii (true, false, true, true, false, true,
-      true, false)), (String ((Ascii (false, true, false, false, false, true,
-      true, false)), (String ((Ascii (true, false, true, false, false, true,
-      true, false)), (String ((Ascii (false, true, false, false, true, true,
-      true, false)),
-      EmptyString))))))))))))))))))))))))))))))))))))))))))))))))))))))))))))))))
-      ((String ((Ascii (true, true, false, false, true, true, true, false)),
-      (String ((Ascii (false, false, true, false, true, true, true, false)),
-      (String ((Ascii (false, true, false, false, true, true, true, false)),
-      (String ((Ascii (true, false, false, true, false, true, true, false)),
-      (String ((Ascii (false, true, true, true, false, true, true, false)),
-      (String ((Ascii (true, true, true, false, false, true, true, false)),
-      (String ((Ascii (true, true, false, false, true, true, true, false)),
-      (String ((Ascii (false, true, true, true, false, true, false, false)),
-      (String ((Ascii (false, false, true, false, true, false, true, false)),
-      (String ((Ascii (false, true, false, false, true, true, true, false)),
-      (String ((Ascii (true, false, false, true, false, true, true, false)),
-      (String ((Ascii (true, false, true, true, false, true, true, false)),
-      (String ((Ascii (true, true, false, false, true, false, true, false)),
-      (String ((Ascii (false, false, false, false, true, true, true, false)),
-      (String ((Ascii (true, false, false, false, false, true, true, false)),
-      (String ((Ascii (true, true, false, false, false, true, true, false)),
-      (String ((Ascii (true, false, true, false, false, true, true, false)),
-      EmptyString)))))))))))))))))))))))))))))))))) :: [])) :: ((mkcut (S (S
-                                                                  (S (S (S (S
-                                                                  (S (S (S (S
-                                                                  (S (S (S (S
-                                                                  (S (S (S (S
-                                                                  (S (S (S (S
-                                                                  (S (S (S (S
-                                                                  (S (S (S (S
-                                                                  (S (S (S (S
-                                                                  (S (S (S (S
-                                                                  (S (S (S (S
-                                                                  (S (S (S (S
-                                                                  (S (S (S (S
-                                                                  (S (S (S (S
-                                                                  (S (S (S (S
-                                                                  (S (S (S (S
-                                                                  (S (S (S (S
-                                                                  (S (S (S (S
-                                                                  (S (S (S (S
-                                                                  O))))))))))))))))))))))))))))))))))))))))))))))))))))))))))))))))))))))))))
-                                                                  (S (S (S (S
-                                                                  (S (S (S (S
-                                                                  (S (S (S (S
-                                                                  (S (S (S (S
-                                                                  (S (S (S (S
-                                                                  (S (S (S (S
-                                                                  (S (S (S (S
-                                                                  (S (S (S (S
-                                                                  (S (S (S (S
-                                                                  (S (S (S (S
-                                                                  (S (S (S (S
-                                                                  (S (S (S (S
-                                                                  (S (S (S (S
-                                                                  (S (S (S (S
-                                                                  (S (S (S (S
-                                                                  (S (S (S (S
-                                                                  (S (S (S (S
-                                                                  (S (S (S (S
-                                                                  (S (S (S (S
-                                                                  (S
-                                                                  O)))))))))))))))))))))))))))))))))))))))))))))))))))))))))))))))))))))))))))))
-                                                                  (String
-                                                                  ((Ascii
-                                                                  (false,
-                                                                  true, true,
-                                                                  false,
-                                                                  false,
-                                                                  false,
-                                                                  true,
-                                                                  false)),
-                                                                  (String
-                                                                  ((Ascii
-                                                                  (true,
-                                                                  true, true,
-                                                                  true,
-                                                                  false,
-                                                                  true, true,
-                                                                  false)),
-                                                                  (String
-                                                                  ((Ascii
-                                                                  (false,
-                                                                  true,
-                                                                  false,
-                                                                  false,
-                                                                  true, true,
-                                                                  true,
-                                                                  false)),
-                                                                  (String
-                                                                  ((Ascii
-                                                                  (true,
-                                                                  false,
-                                                                  true,
-                                                                  false,
-                                                                  false,
-                                                                  true, true,
-                                                                  false)),
-                                                                  (String
-                                                                  ((Ascii
-                                                                  (true,
-                                                                  false,
-                                                                  false,
-                                                                  true,
-                                                                  false,
-                                                                  true, true,
-                                                                  false)),
-                                                                  (String
-                                                                  ((Ascii
-                                                                  (true,
-                                                                  true, true,
-                                                                  false,
-                                                                  false,
-                                                                  true, true,
-                                                                  false)),
-                                                                  (String
-                                                                  ((Ascii
-                                                                  (false,
-                                                                  true, true,
-                                                                  true,
-                                                                  false,
-                                                                  true, true,
-                                                                  false)),
-                                                                  (String
-                                                                  ((Ascii
-                                                                  (true,
-                                                                  true,
-                                                                  false,
-                                                                  false,
-                                                                  false,
-                                                                  false,
-                                                                  true,
-                                                                  false)),
-                                                                  (String
-                                                                  ((Ascii
-                                                                  (true,
-                                                                  true, true,
-                                                                  true,
-                                                                  false,
-                                                                  true, true,
-                                                                  false)),
-                                                                  (String
-                                                                  ((Ascii
-                                                                  (false,
-                                                                  true,
-                                                                  false,
-                                                                  false,
-                                                                  true, true,
-                                                                  true,
-                                                                  false)),
-                                                                  (String
-                                                                  ((Ascii
-                                                                  (false,
-                                                                  true,
-                                                                  false,
-                                                                  false,
-                                                                  true, true,
-                                                                  true,
-                                                                  false)),
-                                                                  (String
-                                                                  ((Ascii
-                                                                  (true,
-                                                                  false,
-                                                                  true,
-                                                                  false,
-                                                                  false,
-                                                                  true, true,
-                                                                  false)),
-                                                                  (String
-                                                                  ((Ascii
-                                                                  (true,
-                                                                  true,
-                                                                  false,
-                                                                  false,
-                                                                  true, true,
-                                                                  true,
-                                                                  false)),
-                                                                  (String
-                                                                  ((Ascii
-                                                                  (false,
-                                                                  false,
-                                                                  false,
-                                                                  false,
-                                                                  true, true,
-                                                                  true,
-                                                                  false)),
-                                                                  (String
-                                                                  ((Ascii
-                                                                  (true,
-                                                                  true, true,
-                                                                  true,
-                                                                  false,
-                                                                  true, true,
-                                                                  false)),
-                                                                  (String
-                                                                  ((Ascii
-                                                                  (false,
-                                                                  true, true,
-                                                                  true,
-                                                                  false,
-                                                                  true, true,
-                                                                  false)),
-                                                                  (String
-                                                                  ((Ascii
-                                                                  (false,
-                                                                  false,
-                                                                  true,
-                                                                  false,
-                                                                  false,
-                                                                  true, true,
-                                                                  false)),
-                                                                  (String
-                                                                  ((Ascii
-                                                                  (true,
-                                                                  false,
-                                                                  true,
-                                                                  false,
-                                                                  false,
-                                                                  true, true,
-                                                                  false)),
-                                                                  (String
-                                                                  ((Ascii
-                                                                  (false,
-                                                                  true, true,
-                                                                  true,
-                                                                  false,
-                                                                  true, true,
-                                                                  false)),
-                                                                  (String
-                                                                  ((Ascii
-                                                                  (false,
-                                                                  false,
-                                                                  true,
-                                                                  false,
-                                                                  true, true,
-                                                                  true,
-                                                                  false)),
-                                                                  (String
-                                                                  ((Ascii
-                                                                  (false,
-                                                                  true,
-                                                                  false,
-                                                                  false,
-                                                                  false,
-                                                                  false,
-                                                                  true,
-                                                                  false)),
-                                                                  (String
-                                                                  ((Ascii
-                                                                  (true,
-                                                                  false,
-                                                                  false,
-                                                                  false,
-                                                                  false,
-                                                                  true, true,
-                                                                  false)),
-                                                                  (String
-                                                                  ((Ascii
-                                                                  (false,
-                                                                  true, true,
-                                                                  true,
-                                                                  false,
-                                                                  true, true,
-                                                                  false)),
-                                                                  (String
-                                                                  ((Ascii
-                                                                  (true,
-                                                                  true,
-                                                                  false,
-                                                                  true,
-                                                                  false,
-                                                                  true, true,
-                                                                  false)),
-                                                                  (String
-                                                                  ((Ascii
-                                                                  (false,
-                                                                  true,
-                                                                  false,
-                                                                  false,
-                                                                  false,
-                                                                  false,
-                                                                  true,
-                                                                  false)),
-                                                                  (String
-                                                                  ((Ascii
-                                                                  (false,
-                                                                  true,
-                                                                  false,
-                                                                  false,
-                                                                  true, true,
-                                                                  true,
-                                                                  false)),
-                                                                  (String
-                                                                  ((Ascii
-                                                                  (true,
-                                                                  false,
-                                                                  false,
-                                                                  false,
-                                                                  false,
-                                                                  true, true,
-                                                                  false)),
-                                                                  (String
-                                                                  ((Ascii
-                                                                  (false,
-                                                                  true, true,
-                                                                  true,
-                                                                  false,
-                                                                  true, true,
-                                                                  false)),
-                                                                  (String
-                                                                  ((Ascii
-                                                                  (true,
-                                                                  true,
-                                                                  false,
-                                                                  false,
-                                                                  false,
-                                                                  true, true,
-                                                                  false)),
-                                                                  (String
-                                                                  ((Ascii
-                                                                  (false,
-                                                                  false,
-                                                                  false,
-                                                                  true,
-                                                                  false,
-                                                                  true, true,
-                                                                  false)),
-                                                                  (String
-                                                                  ((Ascii
-                                                                  (true,
-                                                                  true,
-                                                                  false,
-                                                                  false,
-                                                                  false,
-                                                                  false,
-                                                                  true,
-                                                                  false)),
-                                                                  (String
-                                                                  ((Ascii
-                                                                  (true,
-                                                                  true, true,
-                                                                  true,
-                                                                  false,
-                                                                  true, true,
-                                                                  false)),
-                                                                  (String
-                                                                  ((Ascii
-                                                                  (true,
-                                                                  false,
-                                                                  true,
-                                                                  false,
-                                                                  true, true,
-                                                                  true,
-                                                                  false)),
-                                                                  (String
-                                                                  ((Ascii
-                                                                  (false,
-                                                                  true, true,
-                                                                  true,
-                                                                  false,
-                                                                  true, true,
-                                                                  false)),
-                                                                  (String
-                                                                  ((Ascii
-                                                                  (false,
-                                                                  false,
-                                                                  true,
-                                                                  false,
-                                                                  true, true,
-                                                                  true,
-                                                                  false)),
-                                                                  (String
-                                                                  ((Ascii
-                                                                  (false,
-                                                                  true,
-                                                                  false,
-                                                                  false,
-                                                                  true, true,
-                                                                  true,
-                                                                  false)),
-                                                                  (String
-                                                                  ((Ascii
-                                                                  (true,
-                                                                  false,
-                                                                  false,
-                                                                  true, true,
-                                                                  true, true,
-                                                                  false)),
-                                                                  (String
-                                                                  ((Ascii
-                                                                  (true,
-                                                                  true,
-                                                                  false,
-                                                                  false,
-                                                                  false,
-                                                                  false,
-                                                                  true,
-                                                                  false)),
-                                                                  (String
-                                                                  ((Ascii
-                                                                  (true,
-                                                                  true, true,
-                                                                  true,
-                                                                  false,
-                                                                  true, true,
-                                                                  false)),
-                                                                  (String
-                                                                  ((Ascii
-                                                                  (false,
-                                                                  false,
-                                                                  true,
-                                                                  false,
-                                                                  false,
-                                                                  true, true,
-                                                                  false)),
-                                                                  (String
-                                                                  ((Ascii
-                                                                  (true,
-                                                                  false,
-                                                                  true,
-                                                                  false,
-                                                                  false,
-                                                                  true, true,
-                                                                  false)),
-                                                                  EmptyString))))))))))))))))))))))))))))))))))))))))))))))))))))))))))))))))))))))))))))))))))
-                                                                  ((String
-                                                                  ((Ascii
-                                                                  (true,
-                                                                  true,
-                                                                  false,
-                                                                  false,
-                                                                  true, true,
-                                                                  true,
-                                                                  false)),
-                                                                  (String
-                                                                  ((Ascii
-                                                                  (false,
-                                                                  false,
-                                                                  true,
-                                                                  false,
-                                                                  true, true,
-                                                                  true,
-                                                                  false)),
-                                                                  (String
-                                                                  ((Ascii
-                                                                  (false,
-                                                                  true,
-                                                                  false,
-                                                                  false,
-                                                                  true, true,
-                                                                  true,
-                                                                  false)),
-                                                                  (String
-                                                                  ((Ascii
-                                                                  (true,
-                                                                  false,
-                                                                  false,
-                                                                  true,
-                                                                  false,
-                                                                  true, true,
-                                                                  false)),
-                                                                  (String
-                                                                  ((Ascii
-                                                                  (false,
-                                                                  true, true,
-                                                                  true,
-                                                                  false,
-                                                                  true, true,
-                                                                  false)),
-                                                                  (String
-                                                                  ((Ascii
-                                                                  (true,
-                                                                  true, true,
-                                                                  false,
-                                                                  false,
-                                                                  true, true,
-                                                                  false)),
-                                                                  (String
-                                                                  ((Ascii
-                                                                  (true,
-                                                                  true,
-                                                                  false,
-                                                                  false,
-                                                                  true, true,
-                                                                  true,
-                                                                  false)),
-                                                                  (String
-                                                                  ((Ascii
-                                                                  (false,
-                                                                  true, true,
-                                                                  true,
-                                                                  false,
-                                                                  true,
-                                                                  false,
-                                                                  false)),
-                                                                  (String
-                                                                  ((Ascii
-                                                                  (false,
-                                                                  false,
-                                                                  true,
-                                                                  false,
-                                                                  true,
-                                                                  false,
-                                                                  true,
-                                                                  false)),
-                                                                  (String
-                                                                  ((Ascii
-                                                                  (false,
-                                                                  true,
-                                                                  false,
-                                                                  false,
-                                                                  true, true,
-                                                                  true,
-                                                                  false)),
-                                                                  (String
-                                                                  ((Ascii
-                                                                  (true,
-                                                                  false,
-                                                                  false,
-                                                                  true,
-                                                                  false,
-                                                                  true, true,
-                                                                  false)),
-                                                                  (String
-                                                                  ((Ascii
-                                                                  (true,
-                                                                  false,
-                                                                  true, true,
-                                                                  false,
-                                                                  true, true,
-                                                                  false)),
-                                                                  (String
-                                                                  ((Ascii
-                                                                  (true,
-                                                                  true,
-                                                                  false,
-                                                                  false,
-                                                                  true,
-                                                                  false,
-                                                                  true,
-                                                                  false)),
-                                                                  (String
-                                                                  ((Ascii
-                                                                  (false,
-                                                                  false,
-                                                                  false,
-                                                                  false,
-                                                                  true, true,
-                                                                  true,
-                                                                  false)),
-                                                                  (String
-                                                                  ((Ascii
-                                                                  (true,
-                                                                  false,
-                                                                  false,
-                                                                  false,
-                                                                  false,
-                                                                  true, true,
-                                                                  false)),
-                                                                  (String
-                                                                  ((Ascii
-                                                                  (true,
-                                                                  true,
-                                                                  false,
-                                                                  false,
-                                                                  false,
-                                                                  true, true,
-                                                                  false)),
-                                                                  (String
-                                                                  ((Ascii
-                                                                  (true,
-                                                                  false,
-                                                                  true,
-                                                                  false,
-                                                                  false,
-                                                                  true, true,
-                                                                  false)),
-                                                                  EmptyString)))))))))))))))))))))))))))))))))) :: [])) :: (
-    (mkcut (S (S (S (S (S (S (S (S (S (S (S (S (S (S (S (S (S (S (S (S (S (S
-      (S (S (S (S (S (S (S (S (S (S (S (S (S (S (S (S (S (S (S (S (S (S (S (S
-      (S (S (S (S (S (S (S (S (S (S (S (S (S (S (S (S (S (S (S (S (S (S (S (S
-      (S (S (S (S (S (S (S
-      O)))))))))))))))))))))))))))))))))))))))))))))))))))))))))))))))))))))))))))))
-      (S (S (S (S (S (S (S (S (S (S (S (S (S (S (S (S (S (S (S (S (S (S (S (S
-      (S (S (S (S (S (S (S (S (S (S (S (S (S (S (S (S (S (S (S (S (S (S (S (S
-      (S (S (S (S (S (S (S (S (S (S (S (S (S (S (S (S (S (S (S (S (S (S (S (S
-      (S (S (S (S (S (S (S (S (S (S (S
-      O)))))))))))))))))))))))))))))))))))))))))))))))))))))))))))))))))))))))))))))))))))
-      EmptyString []) :: ((mkcut (S (S (S (S (S (S (S (S (S (S (S (S (S (S (S
-                            (S (S (S (S (S (S (S (S (S (S (S (S (S (S (S (S
-                            (S (S (S (S (S (S (S (S (S (S (S (S (S (S (S (S
-                            (S (S (S (S (S (S (S (S (S (S (S (S (S (S (S (S
-                            (S (S (S (S (S (S (S (S (S (S (S (S (S (S (S (S
-                            (S (S (S (S
-                            O)))))))))))))))))))))))))))))))))))))))))))))))))))))))))))))))))))))))))))))))))))
-                            (S (S (S (S (S (S (S (S (S (S (S (S (S (S (S (S
-                            (S (S (S (S (S (S (S (S (S (S (S (S (S (S (S (S
-                            (S (S (S (S (S (S (S (S (S (S (S (S (S (S (S (S
-                            (S (S (S (S (S (S (S (S (S (S (S (S (S (S (S (S
-                            (S (S (S (S (S (S (S (S (S (S (S (S (S (S (S (S
-                            (S (S (S (S (S (S (S
-                            O)))))))))))))))))))))))))))))))))))))))))))))))))))))))))))))))))))))))))))))))))))))))
-                            (String ((Ascii (true, true, false, false, true,
-                            false, true, false)), (String ((Ascii (true,
-                            false, true, false, false, true, true, false)),
-                            (String ((Ascii (true, false, false, false, true,
-                            true, true, false)), (String ((Ascii (true,
-                            false, true, false, true, true, true, false)),
-                            (String ((Ascii (true, false, true, false, false,
-                            true, true, false)), (String ((Ascii (false,
-                            true, true, true, false, true, true, false)),
-                            (String ((Ascii (true, true, false, false, false,
-                            true, true, false)), (String ((Ascii (true,
-                            false, true, false, false, true, true, false)),
-                            (String ((Ascii (false, true, true, true, false,
-                            false, true, false)), (String ((Ascii (true,
-                            false, true, false, true, true, true, false)),
-                            (String ((Ascii (true, false, true, true, false,
-                            true, true, false)), (String ((Ascii (false,
-                            true, false, false, false, true, true, false)),
-                            (String ((Ascii (true, false, true, false, false,
-                            true, true, false)), (String ((Ascii (false,
-                            true, false, false, true, true, true, false)),
-                            EmptyString)))))))))))))))))))))))))))) ((String
-                            ((Ascii (false, false, false, false, true, true,
-                            true, false)), (String ((Ascii (true, false,
-                            false, false, false, true, true, false)), (String
-                            ((Ascii (false, true, false, false, true, true,
-                            true, false)), (String ((Ascii (true, true,
-                            false, false, true, true, true, false)), (String
-                            ((Ascii (true, false, true, false, false, true,
-                            true, false)), (String ((Ascii (false, true,
-                            true, true, false, false, true, false)), (String
-                            ((Ascii (true, false, true, false, true, true,
-                            true, false)), (String ((Ascii (true, false,
-                            true, true, false, true, true, false)), (String
-                            ((Ascii (false, true, true, false, false, false,
-                            true, false)), (String ((Ascii (true, false,
-                            false, true, false, true, true, false)), (String
-                            ((Ascii (true, false, true, false, false, true,
-                            true, false)), (String ((Ascii (false, false,
-                            true, true, false, true, true, false)), (String
-                            ((Ascii (false, false, true, false, false, true,
-                            true, false)),
-                            EmptyString)))))))))))))))))))))))))) :: [])) :: (
-    (mkcut (S (S (S (S (S (S (S (S (S (S (S (S (S (S (S (S (S (S (S (S (S (S
-      (S (S (S (S (S (S (S (S (S (S (S (S (S (S (S (S (S (S (S (S (S (S (S (S
-      (S (S (S (S (S (S (S (S (S (S (S (S (S (S (S (S (S (S (S (S (S (S (S (S
-      (S (S (S (S (S (S (S (S (S (S (S (S (S (S (S (S (S
-      O)))))))))))))))))))))))))))))))))))))))))))))))))))))))))))))))))))))))))))))))))))))))
-      (S (S (S (S (S (S (S (S (S (S (S (S (S (S (S (S (S (S (S (S (S (S (S (S
-      (S (S (S (S (S (S (S (S (S (S (S (S (S (S (S (S (S (S (S (S (S (S (S (S
-      (S (S (S (S (S (S (S (S (S (S (S (S (S (S (S (S (S (S (S (S (S (S (S (S
-      (S (S (S (S (S (S (S (S (S (S (S (S (S (S (S (S (S (S (S (S (S (S
-      O))))))))))))))))))))))))))))))))))))))))))))))))))))))))))))))))))))))))))))))))))))))))))))))
-      (String ((Ascii (true, false, true, false, false, false, true, false)),
-      (String ((Ascii (false, true, true, true, false, true, true, false)),
-      (String ((Ascii (false, false, true, false, true, true, true, false)),
-      (String ((Ascii (false, true, false, false, true, true, true, false)),
-      (String ((Ascii (true, false, false, true, true, true, true, false)),
-      (String ((Ascii (false, false, true, false, false, false, true,
-      false)), (String ((Ascii (true, false, true, false, false, true, true,
-      false)), (String ((Ascii (false, false, true, false, true, true, true,
-      false)), (String ((Ascii (true, false, false, false, false, true, true,
-      false)), (String ((Ascii (true, false, false, true, false, true, true,
-      false)), (String ((Ascii (false, false, true, true, false, true, true,
-      false)), (String ((Ascii (true, true, false, false, true, false, true,
-      false)), (String ((Ascii (true, false, true, false, false, true, true,
-      false)), (String ((Ascii (true, false, false, false, true, true, true,
-      false)), (String ((Ascii (true, false, true, false, true, true, true,
-      false)), (String ((Ascii (true, false, true, false, false, true, true,
-      false)), (String ((Ascii (false, true, true, true, false, true, true,
-      false)), (String ((Ascii (true, true, false, false, false, true, true,
-      false)), (String ((Ascii (true, false, true, false, false, true, true,
-      false)), (String ((Ascii (false, true, true, true, false, false, true,
-      false)), (String ((Ascii (true, false, true, false, true, true, true,
-      false)), (String ((Ascii (true, false, true, true, false, true, true,
-      false)), (String ((Ascii (false, true, false, false, false, true, true,
-      false)), (String ((Ascii (true, false, true, false, false, true, true,
-      false)), (String ((Ascii (false, true, false, false, true, true, true,
-      false)), EmptyString))))))))))))))))))))))))))))))))))))))))))))))))))
-      ((String ((Ascii (false, false, false, false, true, true, true,
-      false)), (String ((Ascii (true, false, false, false, false, true, true,
-      false)), (String ((Ascii (false, true, false, false, true, true, true,
-      false)), (String ((Ascii (true, true, false, false, true, true, true,
-      false)), (String ((Ascii (true, false, true, false, false, true, true,
-      false)), (String ((Ascii (false, true, true, true, false, false, true,
-      false)), (String ((Ascii (true, false, true, false, true, true, true,
-      false)), (String ((Ascii (true, false, true, true, false, true, true,
-      false)), (String ((Ascii (false, true, true, false, false, false, true,
-      false)), (String ((Ascii (true, false, false, true, false, true, true,
-      false)), (String ((Ascii (true, false, true, false, false, true, true,
-      false)), (String ((Ascii (false, false, true, true, false, true, true,
-      false)), (String ((Ascii (false, false, true, false, false, true, true,
-      false)), EmptyString)))))))))))))))))))))))))) :: [])) :: []))))))))) }
-
-(** val l_Addenda98 : layout **)
-
-let l_Addenda98 =
-  { l_name = (String ((Ascii (true, false, false, false, false, false, true,
-    false)), (String ((Ascii (false, false, true, false, false, true, true,
-    false)), (String ((Ascii (false, false, true, false, false, true, true,
-    false)), (String ((Ascii (true, false, true, false, false, true, true,
-    false)), (String ((Ascii (false, true, true, true, false, true, true,
-    false)), (String ((Ascii (false, false, true, false, false, true, true,
-    false)), (String ((Ascii (true, false, false, false, false, true, true,
-    false)), (String ((Ascii (true, false, false, true, true, true, false,
-    false)), (String ((Ascii (false, false, false, true, true, true, false,
-    false)), EmptyString)))))))))))))))))); l_ix = IRune; l_segs = ((SLit
-    ((Npos (XI (XI (XI (XO (XI XH)))))) :: [])) :: ((SRaw (String ((Ascii
-    (false, false, true, false, true, false, true, false)), (String ((Ascii
-    (true, false, false, true, true, true, true, false)), (String ((Ascii
-    (false, false, false, false, true, true, true, false)), (String ((Ascii
-    (true, false, true, false, false, true, true, false)), (String ((Ascii
-    (true, true, false, false, false, false, true, false)), (String ((Ascii
-    (true, true, true, true, false, true, true, false)), (String ((Ascii
-    (false, false, true, false, false, true, true, false)), (String ((Ascii
-    (true, false, true, false, false, true, true, false)),
-    EmptyString))))))))))))))))) :: ((SRaw (String ((Ascii (true, true,
-    false, false, false, false, true, false)), (String ((Ascii (false, false,
-    false, true, false, true, true, false)), (String ((Ascii (true, false,
-    false, false, false, true, true, false)), (String ((Ascii (false, true,
-    true, true, false, true, true, false)), (String ((Ascii (true, true,
-    true, false, false, true, true, false)), (String ((Ascii (true, false,
-    true, false, false, true, true, false)), (String ((Ascii (true, true,
-    false, false, false, false, true, false)), (String ((Ascii (true, true,
-    true, true, false, true, true, false)), (String ((Ascii (false, false,
-    true, false, false, true, true, false)), (String ((Ascii (true, false,
-    true, false, false, true, true, false)),
-    EmptyString))))))))))))))))))))) :: ((SStr ((String ((Ascii (true, true,
-    true, true, false, false, true, false)), (String ((Ascii (false, true,
-    false, false, true, true, true, false)), (String ((Ascii (true, false,
-    false, true, false, true, true, false)), (String ((Ascii (true, true,
-    true, false, false, true, true, false)), (String ((Ascii (true, false,
-    false, true, false, true, true, false)), (String ((Ascii (false, true,
-    true, true, false, true, true, false)), (String ((Ascii (true, false,
-    false, false, false, true, true, false)), (String ((Ascii (false, false,
-    true, true, false, true, true, false)), (String ((Ascii (false, false,
-    true, false, true, false, true, false)), (String ((Ascii (false, true,
-    false, false, true, true, true, false)), (String ((Ascii (true, false,
-    false, false, false, true, true, false)), (String ((Ascii (true, true,
-    false, false, false, true, true, false)), (String ((Ascii (true, false,
-    true, false, false, true, true, false)),
-    EmptyString)))))))))))))))))))))))))), (S (S (S (S (S (S (S (S (S (S (S
-    (S (S (S (S O))))))))))))))))) :: ((SLit ((Npos (XO (XO (XO (XO (XO
-    XH)))))) :: ((Npos (XO (XO (XO (XO (XO XH)))))) :: ((Npos (XO (XO (XO (XO
-    (XO XH)))))) :: ((Npos (XO (XO (XO (XO (XO XH)))))) :: ((Npos (XO (XO (XO
-    (XO (XO XH)))))) :: ((Npos (XO (XO (XO (XO (XO
-    XH)))))) :: []))))))) :: ((SStr ((String ((Ascii (true, true, true, true,
-    false, false, true, false)), (String ((Ascii (false, true, false, false,
-    true, true, true, false)), (String ((Ascii (true, false, false, true,
-    false, true, true, false)), (String ((Ascii (true, true, true, false,
-    false, true, true, false)), (String ((Ascii (true, false, false, true,
-    false, true, true, false)), (String ((Ascii (false, true, true, true,
-    false, true, true, false)), (String ((Ascii (true, false, false, false,
-    false, true, true, false)), (String ((Ascii (false, false, true, true,
-    false, true, true, false)), (String ((Ascii (false, false, true, false,
-    false, false, true, false)), (String ((Ascii (false, true, true, false,
-    false, false, true, false)), (String ((Ascii (true, false, false, true,
-    false, false, true, false)), EmptyString)))))))))))))))))))))), (S (S (S
-    (S (S (S (S (S O)))))))))) :: ((SCustom ((String ((Ascii (true, false,
-    false, false, false, false, true, false)), (String ((Ascii (false, false,
-    true, false, false, true, true, false)), (String ((Ascii (false, false,
-    true, false, false, true, true, false)), (String ((Ascii (true, false,
-    true, false, false, true, true, false)), (String ((Ascii (false, true,
-    true, true, false, true, true, false)), (String ((Ascii (false, false,
-    true, false, false, true, true, false)), (String ((Ascii (true, false,
-    false, false, false, true, true, false)), (String ((Ascii (true, false,
-    false, true, true, true, false, false)), (String ((Ascii (false, false,
-    false, true, true, true, false, false)), (String ((Ascii (false, true,
-    true, true, false, true, false, false)), (String ((Ascii (true, true,
-    false, false, false, false, true, false)), (String ((Ascii (true, true,
-    true, true, false, true, true, false)), (String ((Ascii (false, true,
-    false, false, true, true, true, false)), (String ((Ascii (false, true,
-    false, false, true, true, true, false)), (String ((Ascii (true, false,
-    true, false, false, true, true, false)), (String ((Ascii (true, true,
-    false, false, false, true, true, false)), (String ((Ascii (false, false,
-    true, false, true, true, true, false)), (String ((Ascii (true, false,
-    true, false, false, true, true, false)), (String ((Ascii (false, false,
-    true, false, false, true, true, false)), (String ((Ascii (false, false,
-    true, false, false, false, true, false)), (String ((Ascii (true, false,
-    false, false, false, true, true, false)), (String ((Ascii (false, false,
-    true, false, true, true, true, false)), (String ((Ascii (true, false,
-    false, false, false, true, true, false)), (String ((Ascii (false, true,
-    true, false, false, false, true, false)), (String ((Ascii (true, false,
-    false, true, false, true, true, false)), (String ((Ascii (true, false,
-    true, false, false, true, true, false)), (String ((Ascii (false, false,
-    true, true, false, true, true, false)), (String ((Ascii (false, false,
-    true, false, false, true, true, false)),
-    EmptyString)))))))))))))))))))))))))))))))))))))))))))))))))))))))),
-    (String ((Ascii (true, true, true, false, true, true, false, false)),
-    (String ((Ascii (false, true, false, false, false, true, true, false)),
-    (String ((Ascii (false, true, true, false, false, true, true, false)),
-    (String ((Ascii (true, false, false, true, true, true, false, false)),
-    (String ((Ascii (false, true, true, false, false, true, true, false)),
-    (String ((Ascii (true, true, false, false, false, true, true, false)),
-    (String ((Ascii (false, true, false, false, false, true, true, false)),
-    (String ((Ascii (false, true, false, false, true, true, false, false)),
-    (String ((Ascii (false, true, false, false, true, true, false, false)),
-    (String ((Ascii (true, false, true, false, true, true, false, false)),
-    (String ((Ascii (false, true, true, false, true, true, false, false)),
-    (String ((Ascii (false, false, true, false, true, true, false, false)),
-    EmptyString)))))))))))))))))))))))))) :: ((SLit ((Npos (XO (XO (XO (XO
-    (XO XH)))))) :: ((Npos (XO (XO (XO (XO (XO XH)))))) :: ((Npos (XO (XO (XO
-    (XO (XO XH)))))) :: ((Npos (XO (XO (XO (XO (XO XH)))))) :: ((Npos (XO (XO
-    (XO (XO (XO XH)))))) :: ((Npos (XO (XO (XO (XO (XO XH)))))) :: ((Npos (XO
-    (XO (XO (XO (XO XH)))))) :: ((Npos (XO (XO (XO (XO (XO XH)))))) :: ((Npos
-    (XO (XO (XO (XO (XO XH)))))) :: ((Npos (XO (XO (XO (XO (XO
-    XH)))))) :: ((Npos (XO (XO (XO (XO (XO XH)))))) :: ((Npos (XO (XO (XO (XO
-    (XO XH)))))) :: ((Npos (XO (XO (XO (XO (XO XH)))))) :: ((Npos (XO (XO (XO
-    (XO (XO XH)))))) :: ((Npos (XO (XO (XO (XO (XO
-    XH)))))) :: [])))))))))))))))) :: ((SStr ((String ((Ascii (false, false,
-    true, false, true, false, true, false)), (String ((Ascii (false, true,
-    false, false, true, true, true, false)), (String ((Ascii (true, false,
-    false, false, false, true, true, false)), (String ((Ascii (true, true,
-    false, false, false, true, true, false)), (String ((Ascii (true, false,
-    true, false, false, true, true, false)), (String ((Ascii (false, true,
-    true, true, false, false, true, false)), (String ((Ascii (true, false,
-    true, false, true, true, true, false)), (String ((Ascii (true, false,
-    true, true, false, true, true, false)), (String ((Ascii (false, true,
-    false, false, false, true, true, false)), (String ((Ascii (true, false,
-    true, false, false, true, true, false)), (String ((Ascii (false, true,
-    false, false, true, true, true, false)),
-    EmptyString)))))))))))))))))))))), (S (S (S (S (S (S (S (S (S (S (S (S (S
-    (S (S O))))))))))))))))) :: []))))))))); l_cuts =
-    ((mkcut O (S O) EmptyString []) :: ((mkcut (S O) (S (S (S O))) (String
-                                          ((Ascii (false, false, true, false,
-                                          true, false, true, false)), (String
-                                          ((Ascii (true, false, false, true,
-                                          true, true, true, false)), (String
-                                          ((Ascii (false, false, false,
-                                          false, true, true, true, false)),
-                                          (String ((Ascii (true, false, true,
-                                          false, false, true, true, false)),
-                                          (String ((Ascii (true, true, false,
-                                          false, false, false, true, false)),
-                                          (String ((Ascii (true, true, true,
-                                          true, false, true, true, false)),
-                                          (String ((Ascii (false, false,
-                                          true, false, false, true, true,
-                                          false)), (String ((Ascii (true,
-                                          false, true, false, false, true,
-                                          true, false)),
-                                          EmptyString)))))))))))))))) []) :: (
-    (mkcut (S (S (S O))) (S (S (S (S (S (S O)))))) (String ((Ascii (true,
-      true, false, false, false, false, true, false)), (String ((Ascii
-      (false, false, false, true, false, true, true, false)), (String ((Ascii
-      (true, false, false, false, false, true, true, false)), (String ((Ascii
-      (false, true, true, true, false, true, true, false)), (String ((Ascii
-      (true, true, true, false, false, true, true, false)), (String ((Ascii
-      (true, false, true, false, false, true, true, false)), (String ((Ascii
-      (true, true, false, false, false, false, true, false)), (String ((Ascii
-      (true, true, true, true, false, true, true, false)), (String ((Ascii
-      (false, false, true, false, false, true, true, false)), (String ((Ascii
-      (true, false, true, false, false, true, true, false)),
-      EmptyString)))))))))))))))))))) []) :: ((mkcut (S (S (S (S (S (S
-                                                O)))))) (S (S (S (S (S (S (S
-                                                (S (S (S (S (S (S (S (S (S (S
-                                                (S (S (S (S
-                                                O)))))))))))))))))))))
-                                                (String ((Ascii (true, true,
-                                                true, true, false, false,
-                                                true, false)), (String
-                                                ((Ascii (false, true, false,
-                                                false, true, true, true,
-                                                false)), (String ((Ascii
-                                                (true, false, false, true,
-                                                false, true, true, false)),
-                                                (String ((Ascii (true, true,
-                                                true, false, false, true,
-                                                true, false)), (String
-                                                ((Ascii (true, false, false,
-                                                true, false, true, true,
-                                                false)), (String ((Ascii
-                                                (false, true, true, true,
-                                                false, true, true, false)),
-                                                (String ((Ascii (true, false,
-                                                false, false, false, true,
-                                                true, false)), (String
-                                                ((Ascii (false, false, true,
-                                                true, false, true, true,
-                                                false)), (String ((Ascii
-                                                (false, false, true, false,
-                                                true, false, true, false)),
-                                                (String ((Ascii (false, true,
-                                                false, false, true, true,
-                                                true, false)), (String
-                                                ((Ascii (true, false, false,
-                                                false, false, true, true,
-                                                false)), (String ((Ascii
-                                                (true, true, false, false,
-                                                false, true, true, false)),
-                                                (String ((Ascii (true, false,
-                                                true, false, false, true,
-                                                true, false)),
-                                                EmptyString))))))))))))))))))))))))))
-                                                ((String ((Ascii (true, true,
-                                                false, false, true, true,
-                                                true, false)), (String
-                                                ((Ascii (false, false, true,
-                                                false, true, true, true,
-                                                false)), (String ((Ascii
-                                                (false, true, false, false,
-                                                true, true, true, false)),
-                                                (String ((Ascii (true, false,
-                                                false, true, false, true,
-                                                true, false)), (String
-                                                ((Ascii (false, true, true,
-                                                true, false, true, true,
-                                                false)), (String ((Ascii
-                                                (true, true, true, false,
-                                                false, true, true, false)),
-                                                (String ((Ascii (true, true,
-                                                false, false, true, true,
-                                                true, false)), (String
-                                                ((Ascii (false, true, true,
-                                                true, false, true, false,
-                                                false)), (String ((Ascii
-                                                (false, false, true, false,
-                                                true, false, true, false)),
-                                                (String ((Ascii (false, true,
-                                                false, false, true, true,
-                                                true, false)), (String
-                                                ((Ascii (true, false, false,
-                                                true, false, true, true,
-                                                false)), (String ((Ascii
-                                                (true, false, true, true,
-                                                false, true, true, false)),
-                                                (String ((Ascii (true, true,
-                                                false, false, true, false,
-                                                true, false)), (String
-                                                ((Ascii (false, false, false,
-                                                false, true, true, true,
-                                                false)), (String ((Ascii
-                                                (true, false, false, false,
-                                                false, true, true, false)),
-                                                (String ((Ascii (true, true,
-                                                false, false, false, true,
-                                                true, false)), (String
-                                                ((Ascii (true, false, true,
-                                                false, false, true, true,
-                                                false)),
-                                                EmptyString)))))))))))))))))))))))))))))))))) :: [])) :: (
-    (mkcut (S (S (S (S (S (S (S (S (S (S (S (S (S (S (S (S (S (S (S (S (S
-      O))))))))))))))))))))) (S (S (S (S (S (S (S (S (S (S (S (S (S (S (S (S
-      (S (S (S (S (S (S (S (S (S (S (S O)))))))))))))))))))))))))))
-      EmptyString []) :: ((mkcut (S (S (S (S (S (S (S (S (S (S (S (S (S (S (S
-                            (S (S (S (S (S (S (S (S (S (S (S (S
-                            O))))))))))))))))))))))))))) (S (S (S (S (S (S (S
-                            (S (S (S (S (S (S (S (S (S (S (S (S (S (S (S (S
-                            (S (S (S (S (S (S (S (S (S (S (S (S
-                            O))))))))))))))))))))))))))))))))))) (String
-                            ((Ascii (true, true, true, true, false, false,
-                            true, false)), (String ((Ascii (false, true,
-                            false, false, true, true, true, false)), (String
-                            ((Ascii (true, false, false, true, false, true,
-                            true, false)), (String ((Ascii (true, true, true,
-                            false, false, true, true, false)), (String
-                            ((Ascii (true, false, false, true, false, true,
-                            true, false)), (String ((Ascii (false, true,
-                            true, true, false, true, true, false)), (String
-                            ((Ascii (true, false, false, false, false, true,
-                            true, false)), (String ((Ascii (false, false,
-                            true, true, false, true, true, false)), (String
-                            ((Ascii (false, false, true, false, false, false,
-                            true, false)), (String ((Ascii (false, true,
-                            true, false, false, false, true, false)), (String
-                            ((Ascii (true, false, false, true, false, false,
-                            true, false)), EmptyString))))))))))))))))))))))
-                            ((String ((Ascii (false, false, false, false,
-                            true, true, true, false)), (String ((Ascii (true,
-                            false, false, false, false, true, true, false)),
-                            (String ((Ascii (false, true, false, false, true,
-                            true, true, false)), (String ((Ascii (true, true,
-                            false, false, true, true, true, false)), (String
-                            ((Ascii (true, false, true, false, false, true,
-                            true, false)), (String ((Ascii (true, true,
-                            false, false, true, false, true, false)), (String
-                            ((Ascii (false, false, true, false, true, true,
-                            true, false)), (String ((Ascii (false, true,
-                            false, false, true, true, true, false)), (String
-                            ((Ascii (true, false, false, true, false, true,
-                            true, false)), (String ((Ascii (false, true,
-                            true, true, false, true, true, false)), (String
-                            ((Ascii (true, true, true, false, false, true,
-                            true, false)), (String ((Ascii (false, true,
-                            true, false, false, false, true, false)), (String
-                            ((Ascii (true, false, false, true, false, true,
-                            true, false)), (String ((Ascii (true, false,
-                            true, false, false, true, true, false)), (String
-                            ((Ascii (false, false, true, true, false, true,
-                            true, false)), (String ((Ascii (false, false,
-                            true, false, false, true, true, false)),
-                            EmptyString)))))))))))))))))))))))))))))))) :: [])) :: (
-    (mkcut (S (S (S (S (S (S (S (S (S (S (S (S (S (S (S (S (S (S (S (S (S (S
-      (S (S (S (S (S (S (S (S (S (S (S (S (S
-      O))))))))))))))))))))))))))))))))))) (S (S (S (S (S (S (S (S (S (S (S
-      (S (S (S (S (S (S (S (S (S (S (S (S (S (S (S (S (S (S (S (S (S (S (S (S
-      (S (S (S (S (S (S (S (S (S (S (S (S (S (S (S (S (S (S (S (S (S (S (S (S
-      (S (S (S (S (S
-      O))))))))))))))))))))))))))))))))))))))))))))))))))))))))))))))))
-      (String ((Ascii (true, true, false, false, false, false, true, false)),
-      (String ((Ascii (true, true, true, true, false, true, true, false)),
-      (String ((Ascii (false, true, false, false, true, true, true, false)),
-      (String ((Ascii (false, true, false, false, true, true, true, false)),
-      (String ((Ascii (true, false, true, false, false, true, true, false)),
-      (String ((Ascii (true, true, false, false, false, true, true, false)),
-      (String ((Ascii (false, false, true, false, true, true, true, false)),
-      (String ((Ascii (true, false, true, false, false, true, true, false)),
-      (String ((Ascii (false, false, true, false, false, true, true, false)),
-      (String ((Ascii (false, false, true, false, false, false, true,
-      false)), (String ((Ascii (true, false, false, false, false, true, true,
-      false)), (String ((Ascii (false, false, true, false, true, true, true,
-      false)), (String ((Ascii (true, false, false, false, false, true, true,
-      false)), EmptyString)))))))))))))))))))))))))) ((String ((Ascii (true,
-      true, false, false, true, true, true, false)), (String ((Ascii (false,
-      false, true, false, true, true, true, false)), (String ((Ascii (false,
-      true, false, false, true, true, true, false)), (String ((Ascii (true,
-      false, false, true, false, true, true, false)), (String ((Ascii (false,
-      true, true, true, false, true, true, false)), (String ((Ascii (true,
-      true, true, false, false, true, true, false)), (String ((Ascii (true,
-      true, false, false, true, true, true, false)), (String ((Ascii (false,
-      true, true, true, false, true, false, false)), (String ((Ascii (false,
-      false, true, false, true, false, true, false)), (String ((Ascii (false,
-      true, false, false, true, true, true, false)), (String ((Ascii (true,
-      false, false, true, false, true, true, false)), (String ((Ascii (true,
-      false, true, true, false, true, true, false)), (String ((Ascii (true,
-      true, false, false, true, false, true, false)), (String ((Ascii (false,
-      false, false, false, true, true, true, false)), (String ((Ascii (true,
-      false, false, false, false, true, true, false)), (String ((Ascii (true,
-      true, false, false, false, true, true, false)), (String ((Ascii (true,
-      false, true, false, false, true, true, false)),
-      EmptyString)))))))))))))))))))))))))))))))))) :: [])) :: ((mkcut (S (S
-                                                                  (S (S (S (S
-                                                                  (S (S (S (S
-                                                                  (S (S (S (S
-                                                                  (S (S (S (S
-                                                                  (S (S (S (S
-                                                                  (S (S (S (S
-                                                                  (S (S (S (S
-                                                                  (S (S (S (S
-                                                                  (S (S (S (S
-                                                                  (S (S (S (S
-                                                                  (S (S (S (S
-                                                                  (S (S (S (S
-                                                                  (S (S (S (S
-                                                                  (S (S (S (S
-                                                                  (S (S (S (S
-                                                                  (S (S
-                                                                  O))))))))))))))))))))))))))))))))))))))))))))))))))))))))))))))))
-                                                                  (S (S (S (S
-                                                                  (S (S (S (S
-                                                                  (S (S (S (S
-                                                                  (S (S (S (S
-                                                                  (S (S (S (S
-                                                                  (S (S (S (S
-                                                                  (S (S (S (S
-                                                                  (S (S (S (S
-                                                                  (S (S (S (S
-                                                                  (S (S (S (S
-                                                                  (S (S (S (S
-                                                                  (S (S (S (S
-                                                                  (S (S (S (S
-                                                                  (S (S (S (S
-                                                                  (S (S (S (S
-                                                                  (S (S (S (S
-                                                                  (S (S (S (S
-                                                                  (S (S
-                                                                  O))))))))))))))))))))))))))))))))))))))))))))))))))))))))))))))))))))))
-                                                                  (String
-                                                                  ((Ascii
-                                                                  (true,
-                                                                  false,
-                                                                  false,
-                                                                  true,
-                                                                  false,
-                                                                  true, true,
-                                                                  false)),
-                                                                  (String
-                                                                  ((Ascii
-                                                                  (true,
-                                                                  false,
-                                                                  false,
-                                                                  false,
-                                                                  false,
-                                                                  true, true,
-                                                                  false)),
-                                                                  (String
-                                                                  ((Ascii
-                                                                  (false,
-                                                                  false,
-                                                                  true,
-                                                                  false,
-                                                                  true, true,
-                                                                  true,
-                                                                  false)),
-                                                                  (String
-                                                                  ((Ascii
-                                                                  (true,
-                                                                  true,
-                                                                  false,
-                                                                  false,
-                                                                  false,
-                                                                  false,
-                                                                  true,
-                                                                  false)),
-                                                                  (String
-                                                                  ((Ascii
-                                                                  (true,
-                                                                  true, true,
-                                                                  true,
-                                                                  false,
-                                                                  true, true,
-                                                                  false)),
-                                                                  (String
-                                                                  ((Ascii
-                                                                  (false,
-                                                                  true,
-                                                                  false,
-                                                                  false,
-                                                                  true, true,
-                                                                  true,
-                                                                  false)),
-                                                                  (String
-                                                                  ((Ascii
-                                                                  (false,
-                                                                  true,
-                                                                  false,
-                                                                  false,
-                                                                  true, true,
-                                                                  true,
-                                                                  false)),
-                                                                  (String
-                                                                  ((Ascii
-                                                                  (true,
-                                                                  false,
-                                                                  true,
-                                                                  false,
-                                                                  false,
-                                                                  true, true,
-                                                                  false)),
-                                                                  (String
-                                                                  ((Ascii
-                                                                  (true,
-                                                                  true,
-                                                                  false,
-                                                                  false,
-                                                                  false,
-                                                                  true, true,
-                                                                  false)),
-                                                                  (String
-                                                                  ((Ascii
-                                                                  (false,
-                                                                  false,
-                                                                  true,
-                                                                  false,
-                                                                  true, true,
-                                                                  true,
-                                                                  false)),
-                                                                  (String
-                                                                  ((Ascii
-                                                                  (true,
-                                                                  false,
-                                                                  true,
-                                                                  false,
-                                                                  false,
-                                                                  true, true,
-                                                                  false)),
-                                                                  (String
-                                                                  ((Ascii
-                                                                  (false,
-                                                                  false,
-                                                                  true,
-                                                                  false,
-                                                                  false,
-                                                                  true, true,
-                                                                  false)),
-                                                                  (String
-                                                                  ((Ascii
-                                                                  (false,
-                                                                  false,
-                                                                  true,
-                                                                  false,
-                                                                  false,
-                                                                  false,
-                                                                  true,
-                                                                  false)),
-                                                                  (String
-                                                                  ((Ascii
-                                                                  (true,
-                                                                  false,
-                                                                  false,
-                                                                  false,
-                                                                  false,
-                                                                  true, true,
-                                                                  false)),
-                                                                  (String
-                                                                  ((Ascii
-                                                                  (false,
-                                                                  false,
-                                                                  true,
-                                                                  false,
-                                                                  true, true,
-                                                                  true,
-                                                                  false)),
-                                                                  (String
-                                                                  ((Ascii
-                                                                  (true,
-                                                                  false,
-                                                                  false,
-                                                                  false,
-                                                                  false,
-                                                                  true, true,
-                                                                  false)),
-                                                                  EmptyString))))))))))))))))))))))))))))))))
-                                                                  ((String
-                                                                  ((Ascii
-                                                                  (true,
-                                                                  true,
-                                                                  false,
-                                                                  false,
-                                                                  true, true,
-                                                                  true,
-                                                                  false)),
-                                                                  (String
-                                                                  ((Ascii
-                                                                  (false,
-                                                                  false,
-                                                                  true,
-                                                                  false,
-                                                                  true, true,
-                                                                  true,
-                                                                  false)),
-                                                                  (String
-                                                                  ((Ascii
-                                                                  (false,
-                                                                  true,
-                                                                  false,
-                                                                  false,
-                                                                  true, true,
-                                                                  true,
-                                                                  false)),
-                                                                  (String
-                                                                  ((Ascii
-                                                                  (true,
-                                                                  false,
-                                                                  false,
-                                                                  true,
-                                                                  false,
-                                                                  true, true,
-                                                                  false)),
-                                                                  (String
-                                                                  ((Ascii
-                                                                  (false,
-                                                                  true, true,
-                                                                  true,
-                                                                  false,
-                                                                  true, true,
-                                                                  false)),
-                                                                  (String
-                                                                  ((Ascii
-                                                                  (true,
-                                                                  true, true,
-                                                                  false,
-                                                                  false,
-                                                                  true, true,
-                                                                  false)),
-                                                                  (String
-                                                                  ((Ascii
-                                                                  (true,
-                                                                  true,
-                                                                  false,
-                                                                  false,
-                                                                  true, true,
-                                                                  true,
-                                                                  false)),
-                                                                  (String
-                                                                  ((Ascii
-                                                                  (false,
-                                                                  true, true,
-                                                                  true,
-                                                                  false,
-                                                                  true,
-                                                                  false,
-                                                                  false)),
-                                                                  (String
-                                                                  ((Ascii
-                                                                  (false,
-                                                                  false,
-                                                                  true,
-                                                                  false,
-                                                                  true,
-                                                                  false,
-                                                                  true,
-                                                                  false)),
-                                                                  (String
-                                                                  ((Ascii
-                                                                  (false,
-                                                                  true,
-                                                                  false,
-                                                                  false,
-                                                                  true, true,
-                                                                  true,
-                                                                  false)),
-                                                                  (String
-                                                                  ((Ascii
-                                                                  (true,
-                                                                  false,
-                                                                  false,
-                                                                  true,
-                                                                  false,
-                                                                  true, true,
-                                                                  false)),
-                                                                  (String
-                                                                  ((Ascii
-                                                                  (true,
-                                                                  false,
-                                                                  true, true,
-                                                                  false,
-                                                                  true, true,
-                                                                  false)),
-                                                                  (String
-                                                                  ((Ascii
-                                                                  (true,
-                                                                  true,
-                                                                  false,
-                                                                  false,
-                                                                  true,
-                                                                  false,
-                                                                  true,
-                                                                  false)),
-                                                                  (String
-                                                                  ((Ascii
-                                                                  (false,
-                                                                  false,
-                                                                  false,
-                                                                  false,
-                                                                  true, true,
-                                                                  true,
-                                                                  false)),
-                                                                  (String
-                                                                  ((Ascii
-                                                                  (true,
-                                                                  false,
-                                                                  false,
-                                                                  false,
-                                                                  false,
-                                                                  true, true,
-                                                                  false)),
-                                                                  (String
-                                                                  ((Ascii
-                                                                  (true,
-                                                                  true,
-                                                                  false,
-                                                                  false,
-                                                                  false,
-                                                                  true, true,
-                                                                  false)),
-                                                                  (String
-                                                                  ((Ascii
-                                                                  (true,
-                                                                  false,
-                                                                  true,
-                                                                  false,
-                                                                  false,
-                                                                  true, true,
-                                                                  false)),
-                                                                  EmptyString)))))))))))))))))))))))))))))))))) :: [])) :: (
-    (mkcut (S (S (S (S (S (S (S (S (S (S (S (S (S (S (S (S (S (S (S (S (S (S
-      (S (S (S (S (S (S (S (S (S (S (S (S (S (S (S (S (S (S (S (S (S (S (S (S
-      (S (S (S (S (S (S (S (S (S (S (S (S (S (S (S (S (S (S (S (S (S (S (S (S
-      O))))))))))))))))))))))))))))))))))))))))))))))))))))))))))))))))))))))
-      (S (S (S (S (S (S (S (S (S (S (S (S (S (S (S (S (S (S (S (S (S (S (S (S
-      (S (S (S (S (S (S (S (S (S (S (S (S (S (S (S (S (S (S (S (S (S (S (S (S
-      (S (S (S (S (S (S (S (S (S (S (S (S (S (S (S (S (S (S (S (S (S (S (S (S
-      (S (S (S (S (S (S (S
-      O)))))))))))))))))))))))))))))))))))))))))))))))))))))))))))))))))))))))))))))))
-      EmptyString []) :: ((mkcut (S (S (S (S (S (S (S (S (S (S (S (S (S (S (S
-                            (S (S (S (S (S (S (S (S (S (S (S (S (S (S (S (S
-                            (S (S (S (S (S (S (S (S (S (S (S (S (S (S (S (S
-                            (S (S (S (S (S (S (S (S (S (S (S (S (S (S (S (S
-                            (S (S (S (S (S (S (S (S (S (S (S (S (S (S (S (S
-                            O)))))))))))))))))))))))))))))))))))))))))))))))))))))))))))))))))))))))))))))))
-                            (S (S (S (S (S (S (S (S (S (S (S (S (S (S (S (S
-                            (S (S (S (S (S (S (S (S (S (S (S (S (S (S (S (S
-                            (S (S (S (S (S (S (S (S (S (S (S (S (S (S (S (S
-                            (S (S (S (S (S (S (S (S (S (S (S (S (S (S (S (S
-                            (S (S (S (S (S (S (S (S (S (S (S (S (S (S (S (S
-                            (S (S (S (S (S (S (S (S (S (S (S (S (S (S
-                            O))))))))))))))))))))))))))))))))))))))))))))))))))))))))))))))))))))))))))))))))))))))))))))))
-                            (String ((Ascii (false, false, true, false, true,
-                            false, true, false)), (String ((Ascii (false,
-                            true, false, false, true, true, true, false)),
-                            (String ((Ascii (true, false, false, false,
-                            false, true, true, false)), (String ((Ascii
-                            (true, true, false, false, false, true, true,
-                            false)), (String ((Ascii (true, false, true,
-                            false, false, true, true, false)), (String
-                            ((Ascii (false, true, true, true, false, false,
-                            true, false)), (String ((Ascii (true, false,
-                            true, false, true, true, true, false)), (String
-                            ((Ascii (true, false, true, true, false, true,
-                            true, false)), (String ((Ascii (false, true,
-                            false, false, false, true, true, false)), (String
-                            ((Ascii (true, false, true, false, false, true,
-                            true, false)), (String ((Ascii (false, true,
-                            false, false, true, true, true, false)),
-                            EmptyString)))))))))))))))))))))) ((String
-                            ((Ascii (true, true, false, false, true, true,
-                            true, false)), (String ((Ascii (false, false,
-                            true, false, true, true, true, false)), (String
-                            ((Ascii (false, true, false, false, true, true,
-                            true, false)), (String ((Ascii (true, false,
-                            false, true, false, true, true, false)), (String
-                            ((Ascii (false, true, true, true, false, true,
-                            true, false)), (String ((Ascii (true, true, true,
-                            false, false, true, true, false)), (String
-                            ((Ascii (true, true, false, false, true, true,
-                            true, false)), (String ((Ascii (false, true,
-                            true, true, false, true, false, false)), (String
-                            ((Ascii (false, false, true, false, true, false,
-                            true, false)), (String ((Ascii (false, true,
-                            false, false, true, true, true, false)), (String
-                            ((Ascii (true, false, false, true, false, true,
-                            true, false)), (String ((Ascii (true, false,
-                            true, true, false, true, true, false)), (String
-                            ((Ascii (true, true, false, false, true, false,
-                            true, false)), (String ((Ascii (false, false,
-                            false, false, true, true, true, false)), (String
-                            ((Ascii (true, false, false, false, false, true,
-                            true, false)), (String ((Ascii (true, true,
-                            false, false, false, true, true, false)), (String
-                            ((Ascii (true, false, true, false, false, true,
-                            true, false)),
-                            EmptyString)))))))))))))))))))))))))))))))))) :: [])) :: [])))))))))) }
-
-(** val l_Addenda98Refused : layout **)
-
-let l_Addenda98Refused =
-  { l_name = (String ((Ascii (true, false, false, false, false, false, true,
-    false)), (String ((Ascii (false, false, true, false, false, true, true,
-    false)), (String ((Ascii (false, false, true, false, false, true, true,
-    false)), (String ((Ascii (true, false, true, false, false, true, true,
-    false)), (String ((Ascii (false, true, true, true, false, true, true,
-    false)), (String ((Ascii (false, false, true, false, false, true, true,
-    false)), (String ((Ascii (true, false, false, false, false, true, true,
-    false)), (String ((Ascii (true, false, false, true, true, true, false,
-    false)), (String ((Ascii (false, false, false, true, true, true, false,
-    false)), (String ((Ascii (false, true, false, false, true, false, true,
-    false)), (String ((Ascii (true, false, true, false, false, true, true,
-    false)), (String ((Ascii (false, true, true, false, false, true, true,
-    false)), (String ((Ascii (true, false, true, false, true, true, true,
-    false)), (String ((Ascii (true, true, false, false, true, true, true,
-    false)), (String ((Ascii (true, false, true, false, false, true, true,
-    false)), (String ((Ascii (false, false, true, false, false, true, true,
-    false)), EmptyString)))))))))))))))))))))))))))))))); l_ix = IRune;
-    l_segs = ((SLit ((Npos (XI (XI (XI (XO (XI XH)))))) :: [])) :: ((SRaw
-    (String ((Ascii (false, false, true, false, true, false, true, false)),
-    (String ((Ascii (true, false, false, true, true, true, true, false)),
-    (String ((Ascii (false, false, false, false, true, true, true, false)),
-    (String ((Ascii (true, false, true, false, false, true, true, false)),
-    (String ((Ascii (true, true, false, false, false, false, true, false)),
-    (String ((Ascii (true, true, true, true, false, true, true, false)),
-    (String ((Ascii (false, false, true, false, false, true, true, false)),
-    (String ((Ascii (true, false, true, false, false, true, true, false)),
-    EmptyString))))))))))))))))) :: ((SRaw (String ((Ascii (false, true,
-    false, false, true, false, true, false)), (String ((Ascii (true, false,
-    true, false, false, true, true, false)), (String ((Ascii (false, true,
-    true, false, false, true, true, false)), (String ((Ascii (true, false,
-    true, false, true, true, true, false)), (String ((Ascii (true, true,
-    false, false, true, true, true, false)), (String ((Ascii (true, false,
-    true, false, false, true, true, false)), (String ((Ascii (false, false,
-    true, false, false, true, true, false)), (String ((Ascii (true, true,
-    false, false, false, false, true, false)), (String ((Ascii (false, false,
-    false, true, false, true, true, false)), (String ((Ascii (true, false,
-    false, false, false, true, true, false)), (String ((Ascii (false, true,
-    true, true, false, true, true, false)), (String ((Ascii (true, true,
-    true, false, false, true, true, false)), (String ((Ascii (true, false,
-    true, false, false, true, true, false)), (String ((Ascii (true, true,
-    false, false, false, false, true, false)), (String ((Ascii (true, true,
-    true, true, false, true, true, false)), (String ((Ascii (false, false,
-    true, false, false, true, true, false)), (String ((Ascii (true, false,
-    true, false, false, true, true, false)),
-    EmptyString))))))))))))))))))))))))))))))))))) :: ((SStr ((String ((Ascii
-    (true, true, true, true, false, false, true, false)), (String ((Ascii
-    (false, true, false, false, true, true, true, false)), (String ((Ascii
-    (true, false, false, true, false, true, true, false)), (String ((Ascii
-    (true, true, true, false, false, true, true, false)), (String ((Ascii
-    (true, false, false, true, false, true, true, false)), (String ((Ascii
-    (false, true, true, true, false, true, true, false)), (String ((Ascii
-    (true, false, false, false, false, true, true, false)), (String ((Ascii
-    (false, false, true, true, false, true, true, false)), (String ((Ascii
-    (false, false, true, false, true, false, true, false)), (String ((Ascii
-    (false, true, false, false, true, true, true, false)), (String ((Ascii
-    (true, false, false, false, false, true, true, false)), (String ((Ascii
-    (true, true, false, false, false, true, true, false)), (String ((Ascii
-    (true, false, true, false, false, true, true, false)),
-    EmptyString)))))))))))))))))))))))))), (S (S (S (S (S (S (S (S (S (S (S
-    (S (S (S (S O))))))))))))))))) :: ((SLit ((Npos (XO (XO (XO (XO (XO
-    XH)))))) :: ((Npos (XO (XO (XO (XO (XO XH)))))) :: ((Npos (XO (XO (XO (XO
-    (XO XH)))))) :: ((Npos (XO (XO (XO (XO (XO XH)))))) :: ((Npos (XO (XO (XO
-    (XO (XO XH)))))) :: ((Npos (XO (XO (XO (XO (XO
-    XH)))))) :: []))))))) :: ((SStr ((String ((Ascii (true, true, true, true,
-    false, false, true, false)), (String ((Ascii (false, true, false, false,
-    true, true, true, false)), (String ((Ascii (true, false, false, true,
-    false, true, true, false)), (String ((Ascii (true, true, true, false,
-    false, true, true, false)), (String ((Ascii (true, false, false, true,
-    false, true, true, false)), (String ((Ascii (false, true, true, true,
-    false, true, true, false)), (String ((Ascii (true, false, false, false,
-    false, true, true, false)), (String ((Ascii (false, false, true, true,
-    false, true, true, false)), (String ((Ascii (false, false, true, false,
-    false, false, true, false)), (String ((Ascii (false, true, true, false,
-    false, false, true, false)), (String ((Ascii (true, false, false, true,
-    false, false, true, false)), EmptyString)))))))))))))))))))))), (S (S (S
-    (S (S (S (S (S O)))))))))) :: ((SAlpha ((String ((Ascii (true, true,
-    false, false, false, false, true, false)), (String ((Ascii (true, true,
-    true, true, false, true, true, false)), (String ((Ascii (false, true,
-    false, false, true, true, true, false)), (String ((Ascii (false, true,
-    false, false, true, true, true, false)), (String ((Ascii (true, false,
-    true, false, false, true, true, false)), (String ((Ascii (true, true,
-    false, false, false, true, true, false)), (String ((Ascii (false, false,
-    true, false, true, true, true, false)), (String ((Ascii (true, false,
-    true, false, false, true, true, false)), (String ((Ascii (false, false,
-    true, false, false, true, true, false)), (String ((Ascii (false, false,
-    true, false, false, false, true, false)), (String ((Ascii (true, false,
-    false, false, false, true, true, false)), (String ((Ascii (false, false,
-    true, false, true, true, true, false)), (String ((Ascii (true, false,
-    false, false, false, true, true, false)),
-    EmptyString)))))))))))))))))))))))))), (S (S (S (S (S (S (S (S (S (S (S
-    (S (S (S (S (S (S (S (S (S (S (S (S (S (S (S (S (S (S
-    O))))))))))))))))))))))))))))))) :: ((SRaw (String ((Ascii (true, true,
-    false, false, false, false, true, false)), (String ((Ascii (false, false,
-    false, true, false, true, true, false)), (String ((Ascii (true, false,
-    false, false, false, true, true, false)), (String ((Ascii (false, true,
-    true, true, false, true, true, false)), (String ((Ascii (true, true,
-    true, false, false, true, true, false)), (String ((Ascii (true, false,
-    true, false, false, true, true, false)), (String ((Ascii (true, true,
-    false, false, false, false, true, false)), (String ((Ascii (true, true,
-    true, true, false, true, true, false)), (String ((Ascii (false, false,
-    true, false, false, true, true, false)), (String ((Ascii (true, false,
-    true, false, false, true, true, false)),
-    EmptyString))))))))))))))))))))) :: ((SStr ((String ((Ascii (false,
-    false, true, false, true, false, true, false)), (String ((Ascii (false,
-    true, false, false, true, true, true, false)), (String ((Ascii (true,
-    false, false, false, false, true, true, false)), (String ((Ascii (true,
-    true, false, false, false, true, true, false)), (String ((Ascii (true,
-    false, true, false, false, true, true, false)), (String ((Ascii (true,
-    true, false, false, true, false, true, false)), (String ((Ascii (true,
-    false, true, false, false, true, true, false)), (String ((Ascii (true,
-    false, false, false, true, true, true, false)), (String ((Ascii (true,
-    false, true, false, true, true, true, false)), (String ((Ascii (true,
-    false, true, false, false, true, true, false)), (String ((Ascii (false,
-    true, true, true, false, true, true, false)), (String ((Ascii (true,
-    true, false, false, false, true, true, false)), (String ((Ascii (true,
-    false, true, false, false, true, true, false)), (String ((Ascii (false,
-    true, true, true, false, false, true, false)), (String ((Ascii (true,
-    false, true, false, true, true, true, false)), (String ((Ascii (true,
-    false, true, true, false, true, true, false)), (String ((Ascii (false,
-    true, false, false, false, true, true, false)), (String ((Ascii (true,
-    false, true, false, false, true, true, false)), (String ((Ascii (false,
-    true, false, false, true, true, true, false)),
-    EmptyString)))))))))))))))))))))))))))))))))))))), (S (S (S (S (S (S (S
-    O))))))))) :: ((SLit ((Npos (XO (XO (XO (XO (XO XH)))))) :: ((Npos (XO
-    (XO (XO (XO (XO XH)))))) :: ((Npos (XO (XO (XO (XO (XO XH)))))) :: ((Npos
-    (XO (XO (XO (XO (XO XH)))))) :: ((Npos (XO (XO (XO (XO (XO
-    XH)))))) :: [])))))) :: ((SStr ((String ((Ascii (false, false, true,
-    false, true, false, true, false)), (String ((Ascii (false, true, false,
-    false, true, true, true, false)), (String ((Ascii (true, false, false,
-    false, false, true, true, false)), (String ((Ascii (true, true, false,
-    false, false, true, true, false)), (String ((Ascii (true, false, true,
-    false, false, true, true, false)), (String ((Ascii (false, true, true,
-    true, false, false, true, false)), (String ((Ascii (true, false, true,
-    false, true, true, true, false)), (String ((Ascii (true, false, true,
-    true, false, true, true, false)), (String ((Ascii (false, true, false,
-    false, false, true, true, false)), (String ((Ascii (true, false, true,
-    false, false, true, true, false)), (String ((Ascii (false, true, false,
-    false, true, true, true, false)), EmptyString)))))))))))))))))))))), (S
-    (S (S (S (S (S (S (S (S (S (S (S (S (S (S
-    O))))))))))))))))) :: []))))))))))); l_cuts =
-    ((mkcut O (S O) EmptyString []) :: ((mkcut (S O) (S (S (S O))) (String
-                                          ((Ascii (false, false, true, false,
-                                          true, false, true, false)), (String
-                                          ((Ascii (true, false, false, true,
-                                          true, true, true, false)), (String
-                                          ((Ascii (false, false, false,
-                                          false, true, true, true, false)),
-                                          (String ((Ascii (true, false, true,
-                                          false, false, true, true, false)),
-                                          (String ((Ascii (true, true, false,
-                                          false, false, false, true, false)),
-                                          (String ((Ascii (true, true, true,
-                                          true, false, true, true, false)),
-                                          (String ((Ascii (false, false,
-                                          true, false, false, true, true,
-                                          false)), (String ((Ascii (true,
-                                          false, true, false, false, true,
-                                          true, false)),
-                                          EmptyString))))))))))))))))
-                                          ((String ((Ascii (true, true,
-                                          false, false, true, true, true,
-                                          false)), (String ((Ascii (false,
-                                          false, true, false, true, true,
-                                          true, false)), (String ((Ascii
-                                          (false, true, false, false, true,
-                                          true, true, false)), (String
-                                          ((Ascii (true, false, false, true,
-                                          false, true, true, false)), (String
-                                          ((Ascii (false, true, true, true,
-                                          false, true, true, false)), (String
-                                          ((Ascii (true, true, true, false,
-                                          false, true, true, false)), (String
-                                          ((Ascii (true, true, false, false,
-                                          true, true, true, false)), (String
-                                          ((Ascii (false, true, true, true,
-                                          false, true, false, false)),
-                                          (String ((Ascii (false, false,
-                                          true, false, true, false, true,
-                                          false)), (String ((Ascii (false,
-                                          true, false, false, true, true,
-                                          true, false)), (String ((Ascii
-                                          (true, false, false, true, false,
-                                          true, true, false)), (String
-                                          ((Ascii (true, false, true, true,
-                                          false, true, true, false)), (String
-                                          ((Ascii (true, true, false, false,
-                                          true, false, true, false)), (String
-                                          ((Ascii (false, false, false,
-                                          false, true, true, true, false)),
-                                          (String ((Ascii (true, false,
-                                          false, false, false, true, true,
-                                          false)), (String ((Ascii (true,
-                                          true, false, false, false, true,
-                                          true, false)), (String ((Ascii
-                                          (true, false, true, false, false,
-                                          true, true, false)),
-                                          EmptyString)))))))))))))))))))))))))))))))))) :: [])) :: (
-    (mkcut (S (S (S O))) (S (S (S (S (S (S O)))))) (String ((Ascii (false,
-      true, false, false, true, false, true, false)), (String ((Ascii (true,
-      false, true, false, false, true, true, false)), (String ((Ascii (false,
-      true, true, false, false, true, true, false)), (String ((Ascii (true,
-      false, true, false, true, true, true, false)), (String ((Ascii (true,
-      true, false, false, true, true, true, false)), (String ((Ascii (true,
-      false, true, false, false, true, true, false)), (String ((Ascii (false,
-      false, true, false, false, true, true, false)), (String ((Ascii (true,
-      true, false, false, false, false, true, false)), (String ((Ascii
-      (false, false, false, true, false, true, true, false)), (String ((Ascii
-      (true, false, false, false, false, true, true, false)), (String ((Ascii
-      (false, true, true, true, false, true, true, false)), (String ((Ascii
-      (true, true, true, false, false, true, true, false)), (String ((Ascii
-      (true, false, true, false, false, true, true, false)), (String ((Ascii
-      (true, true, false, false, false, false, true, false)), (String ((Ascii
-      (true, true, true, true, false, true, true, false)), (String ((Ascii
-      (false, false, true, false, false, true, true, false)), (String ((Ascii
-      (true, false, true, false, false, true, true, false)),
-      EmptyString)))))))))))))))))))))))))))))))))) ((String ((Ascii (true,
-      true, false, false, true, true, true, false)), (String ((Ascii (false,
-      false, true, false, true, true, true, false)), (String ((Ascii (false,
-      true, false, false, true, true, true, false)), (String ((Ascii (true,
-      false, false, true, false, true, true, false)), (String ((Ascii (false,
-      true, true, true, false, true, true, false)), (String ((Ascii (true,
-      true, true, false, false, true, true, false)), (String ((Ascii (true,
-      true, false, false, true, true, true, false)), (String ((Ascii (false,
-      true, true, true, false, true, false, false)), (String ((Ascii (false,
-      false, true, false, true, false, true, false)), (String ((Ascii (false,
-      true, false, false, true, true, true, false)), (String ((Ascii (true,
-      false, false, true, false, true, true, false)), (String ((Ascii (true,
-      false, true, true, false, true, true, false)), (String ((Ascii (true,
-      true, false, false, true, false, true, false)), (String ((Ascii (false,
-      false, false, false, true, true, true, false)), (String ((Ascii (true,
-      false, false, false, false, true, true, false)), (String ((Ascii (true,
-      true, false, false, false, true, true, false)), (String ((Ascii (true,
-      false, true, false, false, true, true, false)),
-      EmptyString)))))))))))))))))))))))))))))))))) :: [])) :: ((mkcut (S (S
-                                                                  (S (S (S (S
-                                                                  O)))))) (S
-                                                                  (S (S (S (S
-                                                                  (S (S (S (S
-                                                                  (S (S (S (S
-                                                                  (S (S (S (S
-                                                                  (S (S (S (S
-                                                                  O)))))))))))))))))))))
-                                                                  (String
-                                                                  ((Ascii
-                                                                  (true,
-                                                                  true, true,
-                                                                  true,
-                                                                  false,
-                                                                  false,
-                                                                  true,
-                                                                  false)),
-                                                                  (String
-                                                                  ((Ascii
-                                                                  (false,
-                                                                  true,
-                                                                  false,
-                                                                  false,
-                                                                  true, true,
-                                                                  true,
-                                                                  false)),
-                                                                  (String
-                                                                  ((Ascii
-                                                                  (true,
-                                                                  false,
-                                                                  false,
-                                                                  true,
-                                                                  false,
-                                                                  true, true,
-                                                                  false)),
-                                                                  (String
-                                                                  ((Ascii
-                                                                  (true,
-                                                                  true, true,
-                                                                  false,
-                                                                  false,
-                                                                  true, true,
-                                                                  false)),
-                                                                  (String
-                                                                  ((Ascii
-                                                                  (true,
-                                                                  false,
-                                                                  false,
-                                                                  true,
-                                                                  false,
-                                                                  true, true,
-                                                                  false)),
-                                                                  (String
-                                                                  ((Ascii
-                                                                  (false,
-                                                                  true, true,
-                                                                  true,
-                                                                  false,
-                                                                  true, true,
-                                                                  false)),
-                                                                  (String
-                                                                  ((Ascii
-                                                                  (true,
-                                                                  false,
-                                                                  false,
-                                                                  false,
-                                                                  false,
-                                                                  true, true,
-                                                                  false)),
-                                                                  (String
-                                                                  ((Ascii
-                                                                  (false,
-                                                                  false,
-                                                                  true, true,
-                                                                  false,
-                                                                  true, true,
-                                                                  false)),
-                                                                  (String
-                                                                  ((Ascii
-                                                                  (false,
-                                                                  false,
-                                                                  true,
-                                                                  false,
-                                                                  true,
-                                                                  false,
-                                                                  true,
-                                                                  false)),
-                                                                  (String
-                                                                  ((Ascii
-                                                                  (false,
-                                                                  true,
-                                                                  false,
-                                                                  false,
-                                                                  true, true,
-                                                                  true,
-                                                                  false)),
-                                                                  (String
-                                                                  ((Ascii
-                                                                  (true,
-                                                                  false,
-                                                                  false,
-                                                                  false,
-                                                                  false,
-                                                                  true, true,
-                                                                  false)),
-                                                                  (String
-                                                                  ((Ascii
-                                                                  (true,
-                                                                  true,
-                                                                  false,
-                                                                  false,
-                                                                  false,
-                                                                  true, true,
-                                                                  false)),
-                                                                  (String
-                                                                  ((Ascii
-                                                                  (true,
-                                                                  false,
-                                                                  true,
-                                                                  false,
-                                                                  false,
-                                                                  true, true,
-                                                                  false)),
-                                                                  EmptyString))))))))))))))))))))))))))
-                                                                  ((String
-                                                                  ((Ascii
-                                                                  (true,
-                                                                  true,
-                                                                  false,
-                                                                  false,
-                                                                  true, true,
-                                                                  true,
-                                                                  false)),
-                                                                  (String
-                                                                  ((Ascii
-                                                                  (false,
-                                                                  false,
-                                                                  true,
-                                                                  false,
-                                                                  true, true,
-                                                                  true,
-                                                                  false)),
-                                                                  (String
-                                                                  ((Ascii
-                                                                  (false,
-                                                                  true,
-                                                                  false,
-                                                                  false,
-                                                                  true, true,
-                                                                  true,
-                                                                  false)),
-                                                                  (String
-                                                                  ((Ascii
-                                                                  (true,
-                                                                  false,
-                                                                  false,
-                                                                  true,
-                                                                  false,
-                                                                  true, true,
-                                                                  false)),
-                                                                  (String
-                                                                  ((Ascii
-                                                                  (false,
-                                                                  true, true,
-                                                                  true,
-                                                                  false,
-                                                                  true, true,
-                                                                  false)),
-                                                                  (String
-                                                                  ((Ascii
-                                                                  (true,
-                                                                  true, true,
-                                                                  false,
-                                                                  false,
-                                                                  true, true,
-                                                                  false)),
-                                                                  (String
-                                                                  ((Ascii
-                                                                  (true,
-                                                                  true,
-                                                                  false,
-                                                                  false,
-                                                                  true, true,
-                                                                  true,
-                                                                  false)),
-                                                                  (String
-                                                                  ((Ascii
-                                                                  (false,
-                                                                  true, true,
-                                                                  true,
-                                                                  false,
-                                                                  true,
-                                                                  false,
-                                                                  false)),
-                                                                  (String
-                                                                  ((Ascii
-                                                                  (false,
-                                                                  false,
-                                                                  true,
-                                                                  false,
-                                                                  true,
-                                                                  false,
-                                                                  true,
-                                                                  false)),
-                                                                  (String
-                                                                  ((Ascii
-                                                                  (false,
-                                                                  true,
-                                                                  false,
-                                                                  false,
-                                                                  true, true,
-                                                                  true,
-                                                                  false)),
-                                                                  (String
-                                                                  ((Ascii
-                                                                  (true,
-                                                                  false,
-                                                                  false,
-                                                                  true,
-                                                                  false,
-                                                                  true, true,
-                                                                  false)),
-                                                                  (String
-                                                                  ((Ascii
-                                                                  (true,
-                                                                  false,
-                                                                  true, true,
-                                                                  false,
-                                                                  true, true,
-                                                                  false)),
-                                                                  (String
-                                                                  ((Ascii
-                                                                  (true,
-                                                                  true,
-                                                                  false,
-                                                                  false,
-                                                                  true,
-                                                                  false,
-                                                                  true,
-                                                                  false)),
-                                                                  (String
-                                                                  ((Ascii
-                                                                  (false,
-                                                                  false,
-                                                                  false,
-                                                                  false,
-                                                                  true, true,
-                                                                  true,
-                                                                  false)),
-                                                                  (String
-                                                                  ((Ascii
-                                                                  (true,
-                                                                  false,
-                                                                  false,
-                                                                  false,
-                                                                  false,
-                                                                  true, true,
-                                                                  false)),
-                                                                  (String
-                                                                  ((Ascii
-                                                                  (true,
-                                                                  true,
-                                                                  false,
-                                                                  false,
-                                                                  false,
-                                                                  true, true,
-                                                                  false)),
-                                                                  (String
-                                                                  ((Ascii
-                                                                  (true,
-                                                                  false,
-                                                                  true,
-                                                                  false,
-                                                                  false,
-                                                                  true, true,
-                                                                  false)),
-                                                                  EmptyString)))))))))))))))))))))))))))))))))) :: [])) :: (
-    (mkcut (S (S (S (S (S (S (S (S (S (S (S (S (S (S (S (S (S (S (S (S (S
-      O))))))))))))))))))))) (S (S (S (S (S (S (S (S (S (S (S (S (S (S (S (S
-      (S (S (S (S (S (S (S (S (S (S (S O)))))))))))))))))))))))))))
-      EmptyString []) :: ((mkcut (S (S (S (S (S (S (S (S (S (S (S (S (S (S (S
-                            (S (S (S (S (S (S (S (S (S (S (S (S
-                            O))))))))))))))))))))))))))) (S (S (S (S (S (S (S
-                            (S (S (S (S (S (S (S (S (S (S (S (S (S (S (S (S
-                            (S (S (S (S (S (S (S (S (S (S (S (S
-                            O))))))))))))))))))))))))))))))))))) (String
-                            ((Ascii (true, true, true, true, false, false,
-                            true, false)), (String ((Ascii (false, true,
-                            false, false, true, true, true, false)), (String
-                            ((Ascii (true, false, false, true, false, true,
-                            true, false)), (String ((Ascii (true, true, true,
-                            false, false, true, true, false)), (String
-                            ((Ascii (true, false, false, true, false, true,
-                            true, false)), (String ((Ascii (false, true,
-                            true, true, false, true, true, false)), (String
-                            ((Ascii (true, false, false, false, false, true,
-                            true, false)), (String ((Ascii (false, false,
-                            true, true, false, true, true, false)), (String
-                            ((Ascii (false, false, true, false, false, false,
-                            true, false)), (String ((Ascii (false, true,
-                            true, false, false, false, true, false)), (String
-                            ((Ascii (true, false, false, true, false, false,
-                            true, false)), EmptyString))))))))))))))))))))))
-                            ((String ((Ascii (false, false, false, false,
-                            true, true, true, false)), (String ((Ascii (true,
-                            false, false, false, false, true, true, false)),
-                            (String ((Ascii (false, true, false, false, true,
-                            true, true, false)), (String ((Ascii (true, true,
-                            false, false, true, true, true, false)), (String
-                            ((Ascii (true, false, true, false, false, true,
-                            true, false)), (String ((Ascii (true, true,
-                            false, false, true, false, true, false)), (String
-                            ((Ascii (false, false, true, false, true, true,
-                            true, false)), (String ((Ascii (false, true,
-                            false, false, true, true, true, false)), (String
-                            ((Ascii (true, false, false, true, false, true,
-                            true, false)), (String ((Ascii (false, true,
-                            true, true, false, true, true, false)), (String
-                            ((Ascii (true, true, true, false, false, true,
-                            true, false)), (String ((Ascii (false, true,
-                            true, false, false, false, true, false)), (String
-                            ((Ascii (true, false, false, true, false, true,
-                            true, false)), (String ((Ascii (true, false,
-                            true, false, false, true, true, false)), (String
-                            ((Ascii (false, false, true, true, false, true,
-                            true, false)), (String ((Ascii (false, false,
-                            true, false, false, true, true, false)),
-                            EmptyString)))))))))))))))))))))))))))))))) :: [])) :: (
-    (mkcut (S (S (S (S (S (S (S (S (S (S (S (S (S (S (S (S (S (S (S (S (S (S
-      (S (S (S (S (S (S (S (S (S (S (S (S (S
-      O))))))))))))))))))))))))))))))))))) (S (S (S (S (S (S (S (S (S (S (S
-      (S (S (S (S (S (S (S (S (S (S (S (S (S (S (S (S (S (S (S (S (S (S (S (S
-      (S (S (S (S (S (S (S (S (S (S (S (S (S (S (S (S (S (S (S (S (S (S (S (S
-      (S (S (S (S (S
-      O))))))))))))))))))))))))))))))))))))))))))))))))))))))))))))))))
-      (String ((Ascii (true, true, false, false, false, false, true, false)),
-      (String ((Ascii (true, true, true, true, false, true, true, false)),
-      (String ((Ascii (false, true, false, false, true, true, true, false)),
-      (String ((Ascii (false, true, false, false, true, true, true, false)),
-      (String ((Ascii (true, false, true, false, false, true, true, false)),
-      (String ((Ascii (true, true, false, false, false, true, true, false)),
-      (String ((Ascii (false, false, true, false, true, true, true, false)),
-      (String ((Ascii (true, false, true, false, false, true, true, false)),
-      (String ((Ascii (false, false, true, false, false, true, true, false)),
-      (String ((Ascii (false, false, true, false, false, false, true,
-      false)), (String ((Ascii (true, false, false, false, false, true, true,
-      false)), (String ((Ascii (false, false, true, false, true, true, true,
-      false)), (String ((Ascii (true, false, false, false, false, true, true,
-      false)), EmptyString)))))))))))))))))))))))))) ((String ((Ascii (true,
-      true, false, false, true, true, true, false)), (String ((Ascii (false,
-      false, true, false, true, true, true, false)), (String ((Ascii (false,
-      true, false, false, true, true, true, false)), (String ((Ascii (true,
-      false, false, true, false, true, true, false)), (String ((Ascii (false,
-      true, true, true, false, true, true, false)), (String ((Ascii (true,
-      true, true, false, false, true, true, false)), (String ((Ascii (true,
-      true, false, false, true, true, true, false)), (String ((Ascii (false,
-      true, true, true, false, true, false, false)), (String ((Ascii (false,
-      false, true, false, true, false, true, false)), (String ((Ascii (false,
-      true, false, false, true, true, true, false)), (String ((Ascii (true,
-      false, false, true, false, true, true, false)), (String ((Ascii (true,
-      false, true, true, false, true, true, false)), (String ((Ascii (true,
-      true, false, false, true, false, true, false)), (String ((Ascii (false,
-      false, false, false, true, true, true, false)), (String ((Ascii (true,
-      false, false, false, false, true, true, false)), (String ((Ascii (true,
-      true, false, false, false, true, true, false)), (String ((Ascii (true,
-      false, true, false, false, true, true, false)),
-      EmptyString)))))))))))))))))))))))))))))))))) :: [])) :: ((mkcut (S (S
-                                                                  (S (S (S (S
-                                                                  (S (S (S (S
-                                                                  (S (S (S (S
-                                                                  (S (S (S (S
-                                                                  (S (S (S (S
-                                                                  (S (S (S (S
-                                                                  (S (S (S (S
-                                                                  (S (S (S (S
-                                                                  (S (S (S (S
-                                                                  (S (S (S (S
-                                                                  (S (S (S (S
-                                                                  (S (S (S (S
-                                                                  (S (S (S (S
-                                                                  (S (S (S (S
-                                                                  (S (S (S (S
-                                                                  (S (S
-                                                                  O))))))))))))))))))))))))))))))))))))))))))))))))))))))))))))))))
-                                                                  (S (S (S (S
-                                                                  (S (S (S (S
-                                                                  (S (S (S (S
-                                                                  (S (S (S (S
-                                                                  (S (S (S (S
-                                                                  (S (S (S (S
-                                                                  (S (S (S (S
-                                                                  (S (S (S (S
-                                                                  (S (S (S (S
-                                                                  (S (S (S (S
-                                                                  (S (S (S (S
-                                                                  (S (S (S (S
-                                                                  (S (S (S (S
-                                                                  (S (S (S (S
-                                                                  (S (S (S (S
-                                                                  (S (S (S (S
-                                                                  (S (S (S
-                                                                  O)))))))))))))))))))))))))))))))))))))))))))))))))))))))))))))))))))
-                                                                  (String
-                                                                  ((Ascii
-                                                                  (true,
-                                                                  true,
-                                                                  false,
-                                                                  false,
-                                                                  false,
-                                                                  false,
-                                                                  true,
-                                                                  false)),
-                                                                  (String
-                                                                  ((Ascii
-                                                                  (false,
-                                                                  false,
-                                                                  false,
-                                                                  true,
-                                                                  false,
-                                                                  true, true,
-                                                                  false)),
-                                                                  (String
-                                                                  ((Ascii
-                                                                  (true,
-                                                                  false,
-                                                                  false,
-                                                                  false,
-                                                                  false,
-                                                                  true, true,
-                                                                  false)),
-                                                                  (String
-                                                                  ((Ascii
-                                                                  (false,
-                                                                  true, true,
-                                                                  true,
-                                                                  false,
-                                                                  true, true,
-                                                                  false)),
-                                                                  (String
-                                                                  ((Ascii
-                                                                  (true,
-                                                                  true, true,
-                                                                  false,
-                                                                  false,
-                                                                  true, true,
-                                                                  false)),
-                                                                  (String
-                                                                  ((Ascii
-                                                                  (true,
-                                                                  false,
-                                                                  true,
-                                                                  false,
-                                                                  false,
-                                                                  true, true,
-                                                                  false)),
-                                                                  (String
-                                                                  ((Ascii
-                                                                  (true,
-                                                                  true,
-                                                                  false,
-                                                                  false,
-                                                                  false,
-                                                                  false,
-                                                                  true,
-                                                                  false)),
-                                                                  (String
-                                                                  ((Ascii
-                                                                  (true,
-                                                                  true, true,
-                                                                  true,
-                                                                  false,
-                                                                  true, true,
-                                                                  false)),
-                                                                  (String
-                                                                  ((Ascii
-                                                                  (false,
-                                                                  false,
-                                                                  true,
-                                                                  false,
-                                                                  false,
-                                                                  true, true,
-                                                                  false)),
-                                                                  (String
-                                                                  ((Ascii
-                                                                  (true,
-                                                                  false,
-                                                                  true,
-                                                                  false,
-                                                                  false,
-                                                                  true, true,
-                                                                  false)),
-                                                                  EmptyString))))))))))))))))))))
-                                                                  ((String
-                                                                  ((Ascii
-                                                                  (true,
-                                                                  true,
-                                                                  false,
-                                                                  false,
-                                                                  true, true,
-                                                                  true,
-                                                                  false)),
-                                                                  (String
-                                                                  ((Ascii
-                                                                  (false,
-                                                                  false,
-                                                                  true,
-                                                                  false,
-                                                                  true, true,
-                                                                  true,
-                                                                  false)),
-                                                                  (String
-                                                                  ((Ascii
-                                                                  (false,
-                                                                  true,
-                                                                  false,
-                                                                  false,
-                                                                  true, true,
-                                                                  true,
-                                                                  false)),
-                                                                  (String
-                                                                  ((Ascii
-                                                                  (true,
-                                                                  false,
-                                                                  false,
-                                                                  true,
-                                                                  false,
-                                                                  true, true,
-                                                                  false)),
-                                                                  (String
-                                                                  ((Ascii
-                                                                  (false,
-                                                                  true, true,
-                                                                  true,
-                                                                  false,
-                                                                  true, true,
-                                                                  false)),
-                                                                  (String
-                                                                  ((Ascii
-                                                                  (true,
-                                                                  true, true,
-                                                                  false,
-                                                                  false,
-                                                                  true, true,
-                                                                  false)),
-                                                                  (String
-                                                                  ((Ascii
-                                                                  (true,
-                                                                  true,
-                                                                  false,
-                                                                  false,
-                                                                  true, true,
-                                                                  true,
-                                                                  false)),
-                                                                  (String
-                                                                  ((Ascii
-                                                                  (false,
-                                                                  true, true,
-                                                                  true,
-                                                                  false,
-                                                                  true,
-                                                                  false,
-                                                                  false)),
-                                                                  (String
-                                                                  ((Ascii
-                                                                  (false,
-                                                                  false,
-                                                                  true,
-                                                                  false,
-                                                                  true,
-                                                                  false,
-                                                                  true,
-                                                                  false)),
-                                                                  (String
-                                                                  ((Ascii
-                                                                  (false,
-                                                                  true,
-                                                                  false,
-                                                                  false,
-                                                                  true, true,
-                                                                  true,
-                                                                  false)),
-                                                                  (String
-                                                                  ((Ascii
-                                                                  (true,
-                                                                  false,
-                                                                  false,
-                                                                  true,
-                                                                  false,
-                                                                  true, true,
-                                                                  false)),
-                                                                  (String
-                                                                  ((Ascii
-                                                                  (true,
-                                                                  false,
-                                                                  true, true,
-                                                                  false,
-                                                                  true, true,
-                                                                  false)),
-                                                                  (String
-                                                                  ((Ascii
-                                                                  (true,
-                                                                  true,
-                                                                  false,
-                                                                  false,
-                                                                  true,
-                                                                  false,
-                                                                  true,
-                                                                  false)),
-                                                                  (String
-                                                                  ((Ascii
-                                                                  (false,
-                                                                  false,
-                                                                  false,
-                                                                  false,
-                                                                  true, true,
-                                                                  true,
-                                                                  false)),
-                                                                  (String
-                                                                  ((Ascii
-                                                                  (true,
-                                                                  false,
-                                                                  false,
-                                                                  false,
-                                                                  false,
-                                                                  true, true,
-                                                                  false)),
-                                                                  (String
-                                                                  ((Ascii
-                                                                  (true,
-                                                                  true,
-                                                                  false,
-                                                                  false,
-                                                                  false,
-                                                                  true, true,
-                                                                  false)),
-                                                                  (String
-                                                                  ((Ascii
-                                                                  (true,
-                                                                  false,
-                                                                  true,
-                                                                  false,
-                                                                  false,
-                                                                  true, true,
-                                                                  false)),
-                                                                  EmptyString)))))))))))))))))))))))))))))))))) :: [])) :: (
-    (mkcut (S (S (S (S (S (S (S (S (S (S (S (S (S (S (S (S (S (S (S (S (S (S
-      (S (S (S (S (S (S (S (S (S (S (S (S (S (S (S (S (S (S (S (S (S (S (S (S
-      (S (S (S (S (S (S (S (S (S (S (S (S (S (S (S (S (S (S (S (S (S
-      O))))))))))))))))))))))))))))))))))))))))))))))))))))))))))))))))))) (S
-      (S (S (S (S (S (S (S (S (S (S (S (S (S (S (S (S (S (S (S (S (S (S (S (S
-      (S (S (S (S (S (S (S (S (S (S (S (S (S (S (S (S (S (S (S (S (S (S (S (S
-      (S (S (S (S (S (S (S (S (S (S (S (S (S (S (S (S (S (S (S (S (S (S (S (S
-      (S
-      O))))))))))))))))))))))))))))))))))))))))))))))))))))))))))))))))))))))))))
-      (String ((Ascii (false, false, true, false, true, false, true, false)),
-      (String ((Ascii (false, true, false, false, true, true, true, false)),
-      (String ((Ascii (true, false, false, false, false, true, true, false)),
-      (String ((Ascii (true, true, false, false, false, true, true, false)),
-      (String ((Ascii (true, false, true, false, false, true, true, false)),
-      (String ((Ascii (true, true, false, false, true, false, true, false)),
-      (String ((Ascii (true, false, true, false, false, true, true, false)),
-      (String ((Ascii (true, false, false, false, true, true, true, false)),
-      (String ((Ascii (true, false, true, false, true, true, true, false)),
-      (String ((Ascii (true, false, true, false, false, true, true, false)),
-      (String ((Ascii (false, true, true, true, false, true, true, false)),
-      (String ((Ascii (true, true, false, false, false, true, true, false)),
-      (String ((Ascii (true, false, true, false, false, true, true, false)),
-      (String ((Ascii (false, true, true, true, false, false, true, false)),
-      (String ((Ascii (true, false, true, false, true, true, true, false)),
-      (String ((Ascii (true, false, true, true, false, true, true, false)),
-      (String ((Ascii (false, true, false, false, false, true, true, false)),
-      (String ((Ascii (true, false, true, false, false, true, true, false)),
-      (String ((Ascii (false, true, false, false, true, true, true, false)),
-      EmptyString)))))))))))))))))))))))))))))))))))))) ((String ((Ascii
-      (true, true, false, false, true, true, true, false)), (String ((Ascii
-      (false, false, true, false, true, true, true, false)), (String ((Ascii
-      (false, true, false, false, true, true, true, false)), (String ((Ascii
-      (true, false, false, true, false, true, true, false)), (String ((Ascii
-      (false, true, true, true, false, true, true, false)), (String ((Ascii
-      (true, true, true, false, false, true, true, false)), (String ((Ascii
-      (true, true, false, false, true, true, true, false)), (String ((Ascii
-      (false, true, true, true, false, true, false, false)), (String ((Ascii
-      (false, false, true, false, true, false, true, false)), (String ((Ascii
-      (false, true, false, false, true, true, true, false)), (String ((Ascii
-      (true, false, false, true, false, true, true, false)), (String ((Ascii
-      (true, false, true, true, false, true, true, false)), (String ((Ascii
-      (true, true, false, false, true, false, true, false)), (String ((Ascii
-      (false, false, false, false, true, true, true, false)), (String ((Ascii
-      (true, false, false, false, false, true, true, false)), (String ((Ascii
-      (true, true, false, false, false, true, true, false)), (String ((Ascii
-      (true, false, true, false, false, true, true, false)),
-      EmptyString)))))))))))))))))))))))))))))))))) :: [])) :: ((mkcut (S (S
-                                                                  (S (S (S (S
-                                                                  (S (S (S (S
-                                                                  (S (S (S (S
-                                                                  (S (S (S (S
-                                                                  (S (S (S (S
-                                                                  (S (S (S (S
-                                                                  (S (S (S (S
-                                                                  (S (S (S (S
-                                                                  (S (S (S (S
-                                                                  (S (S (S (S
-                                                                  (S (S (S (S
-                                                                  (S (S (S (S
-                                                                  (S (S (S (S
-                                                                  (S (S (S (S
-                                                                  (S (S (S (S
-                                                                  (S (S (S (S
-                                                                  (S (S (S (S
-                                                                  (S (S (S (S
-                                                                  O))))))))))))))))))))))))))))))))))))))))))))))))))))))))))))))))))))))))))
-                                                                  (S (S (S (S
-                                                                  (S (S (S (S
-                                                                  (S (S (S (S
-                                                                  (S (S (S (S
-                                                                  (S (S (S (S
-                                                                  (S (S (S (S
-                                                                  (S (S (S (S
-                                                                  (S (S (S (S
-                                                                  (S (S (S (S
-                                                                  (S (S (S (S
-                                                                  (S (S (S (S
-                                                                  (S (S (S (S
-                                                                  (S (S (S (S
-                                                                  (S (S (S (S
-                                                                  (S (S (S (S
-                                                                  (S (S (S (S
-                                                                  (S (S (S (S
-                                                                  (S (S (S (S
-                                                                  (S (S (S (S
-                                                                  (S (S (S
-                                                                  O)))))))))))))))))))))))))))))))))))))))))))))))))))))))))))))))))))))))))))))))
-                                                                  EmptyString
-                                                                  []) :: (
-    (mkcut (S (S (S (S (S (S (S (S (S (S (S (S (S (S (S (S (S (S (S (S (S (S
-      (S (S (S (S (S (S (S (S (S (S (S (S (S (S (S (S (S (S (S (S (S (S (S (S
-      (S (S (S (S (S (S (S (S (S (S (S (S (S (S (S (S (S (S (S (S (S (S (S (S
-      (S (S (S (S (S (S (S (S (S
-      O)))))))))))))))))))))))))))))))))))))))))))))))))))))))))))))))))))))))))))))))
-      (S (S (S (S (S (S (S (S (S (S (S (S (S (S (S (S (S (S (S (S (S (S (S (S
-      (S (S (S (S (S (S (S (S (S (S (S (S (S (S (S (S (S (S (S (S (S (S (S (S
-      (S (S (S (S (S (S (S (S (S (S (S (S (S (S (S (S (S (S (S (S (S (S (S (S
-      (S (S (S (S (S (S (S (S (S (S (S (S (S (S (S (S (S (S (S (S (S (S
-      O))))))))))))))))))))))))))))))))))))))))))))))))))))))))))))))))))))))))))))))))))))))))))))))
-      (String ((Ascii (false, false, true, false, true, false, true, false)),
-      (String ((Ascii (false, true, false, false, true, true, true, false)),
-      (String ((Ascii (true, false, false, false, false, true, true, false)),
-      (String ((Ascii (true, true, false, false, false, true, true, false)),
-      (String ((Ascii (true, false, true, false, false, true, true, false)),
-      (String ((Ascii (false, true, true, true, false, false, true, false)),
-      (String ((Ascii (true, false, true, false, true, true, true, false)),
-      (String ((Ascii (true, false, true, true, false, true, true, false)),
-      (String ((Ascii (false, true, false, false, false, true, true, false)),
-      (String ((Ascii (true, false, true, false, false, true, true, false)),
-      (String ((Ascii (false, true, false, false, true, true, true, false)),
-      EmptyString)))))))))))))))))))))) ((String ((Ascii (true, true, false,
-      false, true, true, true, false)), (String ((Ascii (false, false, true,
-      false, true, true, true, false)), (String ((Ascii (false, true, false,
-      false, true, true, true, false)), (String ((Ascii (true, false, false,
-      true, false, true, true, false)), (String ((Ascii (false, true, true,
-      true, false, true, true, false)), (String ((Ascii (true, true, true,
-      false, false, true, true, false)), (String ((Ascii (true, true, false,
-      false, true, true, true, false)), (String ((Ascii (false, true, true,
-      true, false, true, false, false)), (String ((Ascii (false, false, true,
-      false, true, false, true, false)), (String ((Ascii (false, true, false,
-      false, true, true, true, false)), (String ((Ascii (true, false, false,
-      true, false, true, true, false)), (String ((Ascii (true, false, true,
-      true, false, true, true, false)), (String ((Ascii (true, true, false,
-      false, true, false, true, false)), (String ((Ascii (false, false,
-      false, false, true, true, true, false)), (String ((Ascii (true, false,
-      false, false, false, true, true, false)), (String ((Ascii (true, true,
-      false, false, false, true, true, false)), (String ((Ascii (true, false,
-      true, false, false, true, true, false)),
-      EmptyString)))))))))))))))))))))))))))))))))) :: [])) :: []))))))))))) }
-
-(** val l_Addenda99 : layout **)
-
-let l_Addenda99 =
-  { l_name = (String ((Ascii (true, false, false, false, false, false, true,
-    false)), (String ((Ascii (false, false, true, false, false, true, true,
-    false)), (String ((Ascii (false, false, true, false, false, true, true,
-    false)), (String ((Ascii (true, false, true, false, false, true, true,
-    false)), (String ((Ascii (false, true, true, true, false, true, true,
-    false)), (String ((Ascii (false, false, true, false, false, true, true,
-    false)), (String ((Ascii (true, false, false, false, false, true, true,
-    false)), (String ((Ascii (true, false, false, true, true, true, false,
-    false)), (String ((Ascii (true, false, false, true, true, true, false,
-    false)), EmptyString)))))))))))))))))); l_ix = IRune; l_segs = ((SLit
-    ((Npos (XI (XI (XI (XO (XI XH)))))) :: [])) :: ((SRaw (String ((Ascii
-    (false, false, true, false, true, false, true, false)), (String ((Ascii
-    (true, false, false, true, true, true, true, false)), (String ((Ascii
-    (false, false, false, false, true, true, true, false)), (String ((Ascii
-    (true, false, true, false, false, true, true, false)), (String ((Ascii
-    (true, true, false, false, false, false, true, false)), (String ((Ascii
-    (true, true, true, true, false, true, true, false)), (String ((Ascii
-    (false, false, true, false, false, true, true, false)), (String ((Ascii
-    (true, false, true, false, false, true, true, false)),
-    EmptyString))))))))))))))))) :: ((SRaw (String ((Ascii (false, true,
-    false, false, true, false, true, false)), (String ((Ascii (true, false,
-    true, false, false, true, true, false)), (String ((Ascii (false, false,
-    true, false, true, true, true, false)), (String ((Ascii (true, false,
-    true, false, true, true, true, false)), (String ((Ascii (false, true,
-    false, false, true, true, true, false)), (String ((Ascii (false, true,
-    true, true, false, true, true, false)), (String ((Ascii (true, true,
-    false, false, false, false, true, false)), (String ((Ascii (true, true,
-    true, true, false, true, true, false)), (String ((Ascii (false, false,
-    true, false, false, true, true, false)), (String ((Ascii (true, false,
-    true, false, false, true, true, false)),
-    EmptyString))))))))))))))))))))) :: ((SStr ((String ((Ascii (true, true,
-    true, true, false, false, true, false)), (String ((Ascii (false, true,
-    false, false, true, true, true, false)), (String ((Ascii (true, false,
-    false, true, false, true, true, false)), (String ((Ascii (true, true,
-    true, false, false, true, true, false)), (String ((Ascii (true, false,
-    false, true, false, true, true, false)), (String ((Ascii (false, true,
-    true, true, false, true, true, false)), (String ((Ascii (true, false,
-    false, false, false, true, true, false)), (String ((Ascii (false, false,
-    true, true, false, true, true, false)), (String ((Ascii (false, false,
-    true, false, true, false, true, false)), (String ((Ascii (false, true,
-    false, false, true, true, true, false)), (String ((Ascii (true, false,
-    false, false, false, true, true, false)), (String ((Ascii (true, true,
-    false, false, false, true, true, false)), (String ((Ascii (true, false,
-    true, false, false, true, true, false)),
-    EmptyString)))))))))))))))))))))))))), (S (S (S (S (S (S (S (S (S (S (S
-    (S (S (S (S O))))))))))))))))) :: ((SCustom ((String ((Ascii (true,
-    false, false, false, false, false, true, false)), (String ((Ascii (false,
-    false, true, false, false, true, true, false)), (String ((Ascii (false,
-    false, true, false, false, true, true, false)), (String ((Ascii (true,
-    false, true, false, false, true, true, false)), (String ((Ascii (false,
-    true, true, true, false, true, true, false)), (String ((Ascii (false,
-    false, true, false, false, true, true, false)), (String ((Ascii (true,
-    false, false, false, false, true, true, false)), (String ((Ascii (true,
-    false, false, true, true, true, false, false)), (String ((Ascii (true,
-    false, false, true, true, true, false, false)), (String ((Ascii (false,
-    true, true, true, false, true, false, false)), (String ((Ascii (false,
-    false, true, false, false, false, true, false)), (String ((Ascii (true,
-    false, false, false, false, true, true, false)), (String ((Ascii (false,
-    false, true, false, true, true, true, false)), (String ((Ascii (true,
-    false, true, false, false, true, true, false)), (String ((Ascii (true,
-    true, true, true, false, false, true, false)), (String ((Ascii (false,
-    true, true, false, false, true, true, false)), (String ((Ascii (false,
-    false, true, false, false, false, true, false)), (String ((Ascii (true,
-    false, true, false, false, true, true, false)), (String ((Ascii (true,
-    false, false, false, false, true, true, false)), (String ((Ascii (false,
-    false, true, false, true, true, true, false)), (String ((Ascii (false,
-    false, false, true, false, true, true, false)), (String ((Ascii (false,
-    true, true, false, false, false, true, false)), (String ((Ascii (true,
-    false, false, true, false, true, true, false)), (String ((Ascii (true,
-    false, true, false, false, true, true, false)), (String ((Ascii (false,
-    false, true, true, false, true, true, false)), (String ((Ascii (false,
-    false, true, false, false, true, true, false)),
-    EmptyString)))))))))))))))))))))))))))))))))))))))))))))))))))), (String
-    ((Ascii (true, true, false, false, true, true, false, false)), (String
-    ((Ascii (true, false, true, false, false, true, true, false)), (String
-    ((Ascii (false, true, false, false, true, true, false, false)), (String
-    ((Ascii (false, false, false, true, true, true, false, false)), (String
-    ((Ascii (true, false, true, false, true, true, false, false)), (String
-    ((Ascii (true, false, true, false, false, true, true, false)), (String
-    ((Ascii (true, true, true, false, true, true, false, false)), (String
-    ((Ascii (false, false, false, true, true, true, false, false)), (String
-    ((Ascii (true, false, false, true, true, true, false, false)), (String
-    ((Ascii (true, false, true, false, false, true, true, false)), (String
-    ((Ascii (true, false, true, false, true, true, false, false)), (String
-    ((Ascii (false, false, true, false, true, true, false, false)),
-    EmptyString)))))))))))))))))))))))))) :: ((SStr ((String ((Ascii (true,
-    true, true, true, false, false, true, false)), (String ((Ascii (false,
-    true, false, false, true, true, true, false)), (String ((Ascii (true,
-    false, false, true, false, true, true, false)), (String ((Ascii (true,
-    true, true, false, false, true, true, false)), (String ((Ascii (true,
-    false, false, true, false, true, true, false)), (String ((Ascii (false,
-    true, true, true, false, true, true, false)), (String ((Ascii (true,
-    false, false, false, false, true, true, false)), (String ((Ascii (false,
-    false, true, true, false, true, true, false)), (String ((Ascii (false,
-    false, true, false, false, false, true, false)), (String ((Ascii (false,
-    true, true, false, false, false, true, false)), (String ((Ascii (true,
-    false, false, true, false, false, true, false)),
-    EmptyString)))))))))))))))))))))), (S (S (S (S (S (S (S (S
-    O)))))))))) :: ((SAlpha ((String ((Ascii (true, false, false, false,
-    false, false, true, false)), (String ((Ascii (false, false, true, false,
-    false, true, true, false)), (String ((Ascii (false, false, true, false,
-    false, true, true, false)), (String ((Ascii (true, false, true, false,
-    false, true, true, false)), (String ((Ascii (false, true, true, true,
-    false, true, true, false)), (String ((Ascii (false, false, true, false,
-    false, true, true, false)), (String ((Ascii (true, false, false, false,
-    false, true, true, false)), (String ((Ascii (true, false, false, true,
-    false, false, true, false)), (String ((Ascii (false, true, true, true,
-    false, true, true, false)), (String ((Ascii (false, true, true, false,
-    false, true, true, false)), (String ((Ascii (true, true, true, true,
-    false, true, true, false)), (String ((Ascii (false, true, false, false,
-    true, true, true, false)), (String ((Ascii (true, false, true, true,
-    false, true, true, false)), (String ((Ascii (true, false, false, false,
-    false, true, true, false)), (String ((Ascii (false, false, true, false,
-    true, true, true, false)), (String ((Ascii (true, false, false, true,
-    false, true, true, false)), (String ((Ascii (true, true, true, true,
-    false, true, true, false)), (String ((Ascii (false, true, true, true,
-    false, true, true, false)),
-    EmptyString)))))))))))))))))))))))))))))))))))), (S (S (S (S (S (S (S (S
-    (S (S (S (S (S (S (S (S (S (S (S (S (S (S (S (S (S (S (S (S (S (S (S (S
-    (S (S (S (S (S (S (S (S (S (S (S (S
-    O)))))))))))))))))))))))))))))))))))))))))))))) :: ((SStr ((String
-    ((Ascii (false, false, true, false, true, false, true, false)), (String
-    ((Ascii (false, true, false, false, true, true, true, false)), (String
-    ((Ascii (true, false, false, false, false, true, true, false)), (String
-    ((Ascii (true, true, false, false, false, true, true, false)), (String
-    ((Ascii (true, false, true, false, false, true, true, false)), (String
-    ((Ascii (false, true, true, true, false, false, true, false)), (String
-    ((Ascii (true, false, true, false, true, true, true, false)), (String
+    true, false, true, true, false)), (String ((Ascii (false, true, true,
+    true, false, true, true, false)), (String ((Ascii (true, true, true,
+    false, false, true, true, false)),
+    EmptyString)))))))))))))))))))))))))))))))))))))); s_chan = (String
     ((Ascii (true, false, true, true, false, true, true, false)), (String
-    ((Ascii (false, true, false, false, false, true, true, false)), (String
     ((Ascii (true, false, true, false, false, true, true, false)), (String
-    ((Ascii (false, true, false, false, true, true, true, false)),
-    EmptyString)))))))))))))))))))))), (S (S (S (S (S (S (S (S (S (S (S (S (S
-    (S (S O))))))))))))))))) :: [])))))))); l_cuts =
-    ((mkcut O (S O) EmptyString []) :: ((mkcut (S O) (S (S (S O))) (String
-                                          ((Ascii (false, false, true, false,
-                                          true, false, true, false)), (String
-                                          ((Ascii (true, false, false, true,
-                                          true, true, true, false)), (String
-                                          ((Ascii (false, false, false,
-                                          false, true, true, true, false)),
-                                          (String ((Ascii (true, false, true,
-                                          false, false, true, true, false)),
-                                          (String ((Ascii (true, true, false,
-                                          false, false, false, true, false)),
-                                          (String ((Ascii (true, true, true,
-                                          true, false, true, true, false)),
-                                          (String ((Ascii (false, false,
-                                          true, false, false, true, true,
-                                          false)), (String ((Ascii (true,
-                                          false, true, false, false, true,
-                                          true, false)),
-                                          EmptyString)))))))))))))))) []) :: (
-    (mkcut (S (S (S O))) (S (S (S (S (S (S O)))))) (String ((Ascii (false,
-      true, false, false, true, false, true, false)), (String ((Ascii (true,
-      false, true, false, false, true, true, false)), (String ((Ascii (false,
-      false, true, false, true, true, true, false)), (String ((Ascii (true,
-      false, true, false, true, true, true, false)), (String ((Ascii (false,
-      true, false, false, true, true, true, false)), (String ((Ascii (false,
-      true, true, true, false, true, true, false)), (String ((Ascii (true,
-      true, false, false, false, false, true, false)), (String ((Ascii (true,
-      true, true, true, false, true, true, false)), (String ((Ascii (false,
-      false, true, false, false, true, true, false)), (String ((Ascii (true,
-      false, true, false, false, true, true, false)),
-      EmptyString)))))))))))))))))))) []) :: ((mkcut (S (S (S (S (S (S
-                                                O)))))) (S (S (S (S (S (S (S
-                                                (S (S (S (S (S (S (S (S (S (S
-                                                (S (S (S (S
-                                                O)))))))))))))))))))))
-                                                (String ((Ascii (true, true,
-                                                true, true, false, false,
-                                                true, false)), (String
-                                                ((Ascii (false, true, false,
-                                                false, true, true, true,
-                                                false)), (String ((Ascii
-                                                (true, false, false, true,
-                                                false, true, true, false)),
-                                                (String ((Ascii (true, true,
-                                                true, false, false, true,
-                                                true, false)), (String
-                                                ((Ascii (true, false, false,
-                                                true, false, true, true,
-                                                false)), (String ((Ascii
-                                                (false, true, true, true,
-                                                false, true, true, false)),
-                                                (String ((Ascii (true, false,
-                                                false, false, false, true,
-                                                true, false)), (String
-                                                ((Ascii (false, false, true,
-                                                true, false, true, true,
-                                                false)), (String ((Ascii
-                                                (false, false, true, false,
-                                                true, false, true, false)),
-                                                (String ((Ascii (false, true,
-                                                false, false, true, true,
-                                                true, false)), (String
-                                                ((Ascii (true, false, false,
-                                                false, false, true, true,
-                                                false)), (String ((Ascii
-                                                (true, true, false, false,
-                                                false, true, true, false)),
-                                                (String ((Ascii (true, false,
-                                                true, false, false, true,
-                                                true, false)),
-                                                EmptyString))))))))))))))))))))))))))
-                                                ((String ((Ascii (true, true,
-                                                false, false, true, true,
-                                                true, false)), (String
-                                                ((Ascii (false, false, true,
-                                                false, true, true, true,
-                                                false)), (String ((Ascii
-                                                (false, true, false, false,
-                                                true, true, true, false)),
-                                                (String ((Ascii (true, false,
-                                                false, true, false, true,
-                                                true, false)), (String
-                                                ((Ascii (false, true, true,
-                                                true, false, true, true,
-                                                false)), (String ((Ascii
-                                                (true, true, true, false,
-                                                false, true, true, false)),
-                                                (String ((Ascii (true, true,
-                                                false, false, true, true,
-                                                true, false)), (String
-                                                ((Ascii (false, true, true,
-                                                true, false, true, false,
-                                                false)), (String ((Ascii
-                                                (false, false, true, false,
-                                                true, false, true, false)),
-                                                (String ((Ascii (false, true,
-                                                false, false, true, true,
-                                                true, false)), (String
-                                                ((Ascii (true, false, false,
-                                                true, false, true, true,
-                                                false)), (String ((Ascii
-                                                (true, false, true, true,
-                                                false, true, true, false)),
-                                                (String ((Ascii (true, true,
-                                                false, false, true, false,
-                                                true, false)), (String
-                                                ((Ascii (false, false, false,
-                                                false, true, true, true,
-                                                false)), (String ((Ascii
-                                                (true, false, false, false,
-                                                false, true, true, false)),
-                                                (String ((Ascii (true, true,
-                                                false, false, false, true,
-                                                true, false)), (String
-                                                ((Ascii (true, false, true,
-                                                false, false, true, true,
-                                                false)),
-                                                EmptyString)))))))))))))))))))))))))))))))))) :: [])) :: (
-    (mkcut (S (S (S (S (S (S (S (S (S (S (S (S (S (S (S (S (S (S (S (S (S
-      O))))))))))))))))))))) (S (S (S (S (S (S (S (S (S (S (S (S (S (S (S (S
-      (S (S (S (S (S (S (S (S (S (S (S O))))))))))))))))))))))))))) (String
-      ((Ascii (false, false, true, false, false, false, true, false)),
-      (String ((Ascii (true, false, false, false, false, true, true, false)),
-      (String ((Ascii (false, false, true, false, true, true, true, false)),
-      (String ((Ascii (true, false, true, false, false, true, true, false)),
-      (String ((Ascii (true, true, true, true, false, false, true, false)),
-      (String ((Ascii (false, true, true, false, false, true, true, false)),
-      (String ((Ascii (false, false, true, false, false, false, true,
-      false)), (String ((Ascii (true, false, true, false, false, true, true,
-      false)), (String ((Ascii (true, false, false, false, false, true, true,
-      false)), (String ((Ascii (false, false, true, false, true, true, true,
-      false)), (String ((Ascii (false, false, false, true, false, true, true,
-      false)), EmptyString)))))))))))))))))))))) ((String ((Ascii (false,
-      true, true, false, true, true, true, false)), (String ((Ascii (true,
-      false, false, false, false, true, true, false)), (String ((Ascii
-      (false, false, true, true, false, true, true, false)), (String ((Ascii
-      (true, false, false, true, false, true, true, false)), (String ((Ascii
-      (false, false, true, false, false, true, true, false)), (String ((Ascii
-      (true, false, false, false, false, true, true, false)), (String ((Ascii
-      (false, false, true, false, true, true, true, false)), (String ((Ascii
-      (true, false, true, false, false, true, true, false)), (String ((Ascii
-      (true, true, false, false, true, false, true, false)), (String ((Ascii
-      (true, false, false, true, false, true, true, false)), (String ((Ascii
-      (true, false, true, true, false, true, true, false)), (String ((Ascii
-      (false, false, false, false, true, true, true, false)), (String ((Ascii
-      (false, false, true, true, false, true, true, false)), (String ((Ascii
-      (true, false, true, false, false, true, true, false)), (String ((Ascii
-      (false, false, true, false, false, false, true, false)), (String
-      ((Ascii (true, false, false, false, false, true, true, false)), (String
-      ((Ascii (false, false, true, false, true, true, true, false)), (String
-      ((Ascii (true, false, true, false, false, true, true, false)),
-      EmptyString)))))))))))))))))))))))))))))))))))) :: [])) :: ((mkcut (S
-                                                                    (S (S (S
-                                                                    (S (S (S
-                                                                    (S (S (S
-                                                                    (S (S (S
-                                                                    (S (S (S
-                                                                    (S (S (S
-                                                                    (S (S (S
-                                                                    (S (S (S
-                                                                    (S (S
-                                                                    O)))))))))))))))))))))))))))
-                                                                    (S (S (S
-                                                                    (S (S (S
-                                                                    (S (S (S
-                                                                    (S (S (S
-                                                                    (S (S (S
-                                                                    (S (S (S
-                                                                    (S (S (S
-                                                                    (S (S (S
-                                                                    (S (S (S
-                                                                    (S (S (S
-                                                                    (S (S (S
-                                                                    (S (S
-                                                                    O)))))))))))))))))))))))))))))))))))
-                                                                    (String
-                                                                    ((Ascii
-                                                                    (true,
-                                                                    true,
-                                                                    true,
-                                                                    true,
-                                                                    false,
-                                                                    false,
-                                                                    true,
-                                                                    false)),
-                                                                    (String
-                                                                    ((Ascii
-                                                                    (false,
-                                                                    true,
-                                                                    false,
-                                                                    false,
-                                                                    true,
-                                                                    true,
-                                                                    true,
-                                                                    false)),
-                                                                    (String
-                                                                    ((Ascii
-                                                                    (true,
-                                                                    false,
-                                                                    false,
-                                                                    true,
-                                                                    false,
-                                                                    true,
-                                                                    true,
-                                                                    false)),
-                                                                    (String
-                                                                    ((Ascii
-                                                                    (true,
-                                                                    true,
-                                                                    true,
-                                                                    false,
-                                                                    false,
-                                                                    true,
-                                                                    true,
-                                                                    false)),
-                                                                    (String
-                                                                    ((Ascii
-                                                                    (true,
-                                                                    false,
-                                                                    false,
-                                                                    true,
-                                                                    false,
-                                                                    true,
-                                                                    true,
-                                                                    false)),
-                                                                    (String
-                                                                    ((Ascii
-                                                                    (false,
-                                                                    true,
-                                                                    true,
-                                                                    true,
-                                                                    false,
-                                                                    true,
-                                                                    true,
-                                                                    false)),
-                                                                    (String
-                                                                    ((Ascii
-                                                                    (true,
-                                                                    false,
-                                                                    false,
-                                                                    false,
-                                                                    false,
-                                                                    true,
-                                                                    true,
-                                                                    false)),
-                                                                    (String
-                                                                    ((Ascii
-                                                                    (false,
-                                                                    false,
-                                                                    true,
-                                                                    true,
-                                                                    false,
-                                                                    true,
-                                                                    true,
-                                                                    false)),
-                                                                    (String
-                                                                    ((Ascii
-                                                                    (false,
-                                                                    false,
-                                                                    true,
-                                                                    false,
-                                                                    false,
-                                                                    false,
-                                                                    true,
-                                                                    false)),
-                                                                    (String
-                                                                    ((Ascii
-                                                                    (false,
-                                                                    true,
-                                                                    true,
-                                                                    false,
-                                                                    false,
-                                                                    false,
-                                                                    true,
-                                                                    false)),
-                                                                    (String
-                                                                    ((Ascii
-                                                                    (true,
-                                                                    false,
-                                                                    false,
-                                                                    true,
-                                                                    false,
-                                                                    false,
-                                                                    true,
-                                                                    false)),
-                                                                    EmptyString))))))))))))))))))))))
-                                                                    ((String
-                                                                    ((Ascii
-                                                                    (false,
-                                                                    false,
-                                                                    false,
-                                                                    false,
-                                                                    true,
-                                                                    true,
-                                                                    true,
-                                                                    false)),
-                                                                    (String
-                                                                    ((Ascii
-                                                                    (true,
-                                                                    false,
-                                                                    false,
-                                                                    false,
-                                                                    false,
-                                                                    true,
-                                                                    true,
-                                                                    false)),
-                                                                    (String
-                                                                    ((Ascii
-                                                                    (false,
-                                                                    true,
-                                                                    false,
-                                                                    false,
-                                                                    true,
-                                                                    true,
-                                                                    true,
-                                                                    false)),
-                                                                    (String
-                                                                    ((Ascii
-                                                                    (true,
-                                                                    true,
-                                                                    false,
-                                                                    false,
-                                                                    true,
-                                                                    true,
-                                                                    true,
-                                                                    false)),
-                                                                    (String
-                                                                    ((Ascii
-                                                                    (true,
-                                                                    false,
-                                                                    true,
-                                                                    false,
-                                                                    false,
-                                                                    true,
-                                                                    true,
-                                                                    false)),
-                                                                    (String
-                                                                    ((Ascii
-                                                                    (true,
-                                                                    true,
-                                                                    false,
-                                                                    false,
-                                                                    true,
-                                                                    false,
-                                                                    true,
-                                                                    false)),
-                                                                    (String
-                                                                    ((Ascii
-                                                                    (false,
-                                                                    false,
-                                                                    true,
-                                                                    false,
-                                                                    true,
-                                                                    true,
-                                                                    true,
-                                                                    false)),
-                                                                    (String
-                                                                    ((Ascii
-                                                                    (false,
-                                                                    true,
-                                                                    false,
-                                                                    false,
-                                                                    true,
-                                                                    true,
-                                                                    true,
-                                                                    false)),
-                                                                    (String
-                                                                    ((Ascii
-                                                                    (true,
-                                                                    false,
-                                                                    false,
-                                                                    true,
-                                                                    false,
-                                                                    true,
-                                                                    true,
-                                                                    false)),
-                                                                    (String
-                                                                    ((Ascii
-                                                                    (false,
-                                                                    true,
-                                                                    true,
-                                                                    true,
-                                                                    false,
-                                                                    true,
-                                                                    true,
-                                                                    false)),
-                                                                    (String
-                                                                    ((Ascii
-                                                                    (true,
-                                                                    true,
-                                                                    true,
-                                                                    false,
-                                                                    false,
-                                                                    true,
-                                                                    true,
-                                                                    false)),
-                                                                    (String
-                                                                    ((Ascii
-                                                                    (false,
-                                                                    true,
-                                                                    true,
-                                                                    false,
-                                                                    false,
-                                                                    false,
-                                                                    true,
-                                                                    false)),
-                                                                    (String
-                                                                    ((Ascii
-                                                                    (true,
-                                                                    false,
-                                                                    false,
-                                                                    true,
-                                                                    false,
-                                                                    true,
-                                                                    true,
-                                                                    false)),
-                                                                    (String
-                                                                    ((Ascii
-                                                                    (true,
-                                                                    false,
-                                                                    true,
-                                                                    false,
-                                                                    false,
-                                                                    true,
-                                                                    true,
-                                                                    false)),
-                                                                    (String
-                                                                    ((Ascii
-                                                                    (false,
-                                                                    false,
-                                                                    true,
-                                                                    true,
-                                                                    false,
-                                                                    true,
-                                                                    true,
-                                                                    false)),
-                                                                    (String
-                                                                    ((Ascii
-                                                                    (false,
-                                                                    false,
-                                                                    true,
-                                                                    false,
-                                                                    false,
-                                                                    true,
-                                                                    true,
-                                                                    false)),
-                                                                    EmptyString)))))))))))))))))))))))))))))))) :: [])) :: (
-    (mkcut (S (S (S (S (S (S (S (S (S (S (S (S (S (S (S (S (S (S (S (S (S (S
-      (S (S (S (S (S (S (S (S (S (S (S (S (S
-      O))))))))))))))))))))))))))))))))))) (S (S (S (S (S (S (S (S (S (S (S
-      (S (S (S (S (S (S (S (S (S (S (S (S (S (S (S (S (S (S (S (S (S (S (S (S
-      (S (S (S (S (S (S (S (S (S (S (S (S (S (S (S (S (S (S (S (S (S (S (S (S
-      (S (S (S (S (S (S (S (S (S (S (S (S (S (S (S (S (S (S (S (S
-      O)))))))))))))))))))))))))))))))))))))))))))))))))))))))))))))))))))))))))))))))
-      (String ((Ascii (true, false, false, false, false, false, true,
-      false)), (String ((Ascii (false, false, true, false, false, true, true,
-      false)), (String ((Ascii (false, false, true, false, false, true, true,
-      false)), (String ((Ascii (true, false, true, false, false, true, true,
-      false)), (String ((Ascii (false, true, true, true, false, true, true,
-      false)), (String ((Ascii (false, false, true, false, false, true, true,
-      false)), (String ((Ascii (true, false, false, false, false, true, true,
-      false)), (String ((Ascii (true, false, false, true, false, false, true,
-      false)), (String ((Ascii (false, true, true, true, false, true, true,
-      false)), (String ((Ascii (false, true, true, false, false, true, true,
-      false)), (String ((Ascii (true, true, true, true, false, true, true,
-      false)), (String ((Ascii (false, true, false, false, true, true, true,
-      false)), (String ((Ascii (true, false, true, true, false, true, true,
-      false)), (String ((Ascii (true, false, false, false, false, true, true,
-      false)), (String ((Ascii (false, false, true, false, true, true, true,
-      false)), (String ((Ascii (true, false, false, true, false, true, true,
-      false)), (String ((Ascii (true, true, true, true, false, true, true,
-      false)), (String ((Ascii (false, true, true, true, false, true, true,
-      false)), EmptyString)))))))))))))))))))))))))))))))))))) []) :: (
-    (mkcut (S (S (S (S (S (S (S (S (S (S (S (S (S (S (S (S (S (S (S (S (S (S
-      (S (S (S (S (S (S (S (S (S (S (S (S (S (S (S (S (S (S (S (S (S (S (S (S
-      (S (S (S (S (S (S (S (S (S (S (S (S (S (S (S (S (S (S (S (S (S (S (S (S
-      (S (S (S (S (S (S (S (S (S
-      O)))))))))))))))))))))))))))))))))))))))))))))))))))))))))))))))))))))))))))))))
-      (S (S (S (S (S (S (S (S (S (S (S (S (S (S (S (S (S (S (S (S (S (S (S (S
-      (S (S (S (S (S (S (S (S (S (S (S (S (S (S (S (S (S (S (S (S (S (S (S (S
-      (S (S (S (S (S (S (S (S (S (S (S (S (S (S (S (S (S (S (S (S (S (S (S (S
-      (S (S (S (S (S (S (S (S (S (S (S (S (S (S (S (S (S (S (S (S (S (S
-      O))))))))))))))))))))))))))))))))))))))))))))))))))))))))))))))))))))))))))))))))))))))))))))))
-      (String ((Ascii (false, false, true, false, true, false, true, false)),
-      (String ((Ascii (false, true, false, false, true, true, true, false)),
-      (String ((Ascii (true, false, false, false, false, true, true, false)),
-      (String ((Ascii (true, true, false, false, false, true, true, false)),
-      (String ((Ascii (true, false, true, false, false, true, true, false)),
-      (String ((Ascii (false, true, true, true, false, false, true, false)),
-      (String ((Ascii (true, false, true, false, true, true, true, false)),
-      (String ((Ascii (true, false, true, true, false, true, true, false)),
-      (String ((Ascii (false, true, false, false, false, true, true, false)),
-      (String ((Ascii (true, false, true, false, false, true, true, false)),
-      (String ((Ascii (false, true, false, false, true, true, true, false)),
-      EmptyString)))))))))))))))))))))) ((String ((Ascii (true, true, false,
-      false, true, true, true, false)), (String ((Ascii (false, false, true,
-      false, true, true, true, false)), (String ((Ascii (false, true, false,
-      false, true, true, true, false)), (String ((Ascii (true, false, false,
-      true, false, true, true, false)), (String ((Ascii (false, true, true,
-      true, false, true, true, false)), (String ((Ascii (true, true, true,
-      false, false, true, true, false)), (String ((Ascii (true, true, false,
-      false, true, true, true, false)), (String ((Ascii (false, true, true,
-      true, false, true, false, false)), (String ((Ascii (false, false, true,
-      false, true, false, true, false)), (String ((Ascii (false, true, false,
-      false, true, true, true, false)), (String ((Ascii (true, false, false,
-      true, false, true, true, false)), (String ((Ascii (true, false, true,
-      true, false, true, true, false)), (String ((Ascii (true, true, false,
-      false, true, false, true, false)), (String ((Ascii (false, false,
-      false, false, true, true, true, false)), (String ((Ascii (true, false,
-      false, false, false, true, true, false)), (String ((Ascii (true, true,
-      false, false, false, true, true, false)), (String ((Ascii (true, false,
-      true, false, false, true, true, false)),
-      EmptyString)))))))))))))))))))))))))))))))))) :: [])) :: [])))))))) }
-
-(** val l_Addenda99Contested : layout **)
-
-let l_Addenda99Contested =
-  { l_name = (String ((Ascii (true, false, false, false, false, false, true,
-    false)), (String ((Ascii (false, false, true, false, false, true, true,
-    false)), (String ((Ascii (false, false, true, false, false, true, true,
-    false)), (String ((Ascii (true, false, true, false, false, true, true,
-    false)), (String ((Ascii (false, true, true, true, false, true, true,
-    false)), (String ((Ascii (false, false, true, false, false, true, true,
-    false)), (String ((Ascii (true, false, false, false, false, true, true,
-    false)), (String ((Ascii (true, false, false, true, true, true, false,
-    false)), (String ((Ascii (true, false, false, true, true, true, false,
-    false)), (String ((Ascii (true, true, false, false, false, false, true,
-    false)), (String ((Ascii (true, true, true, true, false, true, true,
-    false)), (String ((Ascii (false, true, true, true, false, true, true,
-    false)), (String ((Ascii (false, false, true, false, true, true, true,
-    false)), (String ((Ascii (true, false, true, false, false, true, true,
-    false)), (String ((Ascii (true, true, false, false, true, true, true,
-    false)), (String ((Ascii (false, false, true, false, true, true, true,
-    false)), (String ((Ascii (true, false, true, false, false, true, true,
-    false)), (String ((Ascii (false, false, true, false, false, true, true,
-    false)), EmptyString)))))))))))))))))))))))))))))))))))); l_ix = IRune;
-    l_segs = ((SLit ((Npos (XI (XI (XI (XO (XI XH)))))) :: [])) :: ((SRaw
-    (String ((Ascii (false, false, true, false, true, false, true, false)),
-    (String ((Ascii (true, false, false, true, true, true, true, false)),
-    (String ((Ascii (false, false, false, false, true, true, true, false)),
-    (String ((Ascii (true, false, true, false, false, true, true, false)),
-    (String ((Ascii (true, true, false, false, false, false, true, false)),
-    (String ((Ascii (true, true, true, true, false, true, true, false)),
-    (String ((Ascii (false, false, true, false, false, true, true, false)),
-    (String ((Ascii (true, false, true, false, false, true, true, false)),
-    EmptyString))))))))))))))))) :: ((SStr ((String ((Ascii (true, true,
-    false, false, false, false, true, false)), (String ((Ascii (true, true,
-    true, true, false, true, true, false)), (String ((Ascii (false, true,
-    true, true, false, true, true, false)), (String ((Ascii (false, false,
-    true, false, true, true, true, false)), (String ((Ascii (true, false,
-    true, false, false, true, true, false)), (String ((Ascii (true, true,
-    false, false, true, true, true, false)), (String ((Ascii (false, false,
-    true, false, true, true, true, false)), (String ((Ascii (true, false,
-    true, false, false, true, true, false)), (String ((Ascii (false, false,
-    true, false, false, true, true, false)), (String ((Ascii (false, true,
-    false, false, true, false, true, false)), (String ((Ascii (true, false,
-    true, false, false, true, true, false)), (String ((Ascii (false, false,
-    true, false, true, true, true, false)), (String ((Ascii (true, false,
-    true, false, true, true, true, false)), (String ((Ascii (false, true,
-    false, false, true, true, true, false)), (String ((Ascii (false, true,
-    true, true, false, true, true, false)), (String ((Ascii (true, true,
-    false, false, false, false, true, false)), (String ((Ascii (true, true,
-    true, true, false, true, true, false)), (String ((Ascii (false, false,
-    true, false, false, true, true, false)), (String ((Ascii (true, false,
-    true, false, false, true, true, false)),
-    EmptyString)))))))))))))))))))))))))))))))))))))), (S (S (S
-    O))))) :: ((SStr ((String ((Ascii (true, true, true, true, false, false,
-    true, false)), (String ((Ascii (false, true, false, false, true, true,
-    true, false)), (String ((Ascii (true, false, false, true, false, true,
-    true, false)), (String ((Ascii (true, true, true, false, false, true,
-    true, false)), (String ((Ascii (true, false, false, true, false, true,
-    true, false)), (String ((Ascii (false, true, true, true, false, true,
-    true, false)), (String ((Ascii (true, false, false, false, false, true,
-    true, false)), (String ((Ascii (false, false, true, true, false, true,
-    true, false)), (String ((Ascii (true, false, true, false, false, false,
-    true, false)), (String ((Ascii (false, true, true, true, false, true,
-    true, false)), (String ((Ascii (false, false, true, false, true, true,
-    true, false)), (String ((Ascii (false, true, false, false, true, true,
-    true, false)), (String ((Ascii (true, false, false, true, true, true,
-    true, false)), (String ((Ascii (false, false, true, false, true, false,
-    true, false)), (String ((Ascii (false, true, false, false, true, true,
-    true, false)), (String ((Ascii (true, false, false, false, false, true,
-    true, false)), (String ((Ascii (true, true, false, false, false, true,
-    true, false)), (String ((Ascii (true, false, true, false, false, true,
-    true, false)), (String ((Ascii (false, true, true, true, false, false,
-    true, false)), (String ((Ascii (true, false, true, false, true, true,
-    true, false)), (String ((Ascii (true, false, true, true, false, true,
-    true, false)), (String ((Ascii (false, true, false, false, false, true,
-    true, false)), (String ((Ascii (true, false, true, false, false, true,
-    true, false)), (String ((Ascii (false, true, false, false, true, true,
-    true, false)),
-    EmptyString)))))))))))))))))))))))))))))))))))))))))))))))), (S (S (S (S
-    (S (S (S (S (S (S (S (S (S (S (S O))))))))))))))))) :: ((SStr ((String
-    ((Ascii (false, false, true, false, false, false, true, false)), (String
-    ((Ascii (true, false, false, false, false, true, true, false)), (String
-    ((Ascii (false, false, true, false, true, true, true, false)), (String
-    ((Ascii (true, false, true, false, false, true, true, false)), (String
-    ((Ascii (true, true, true, true, false, false, true, false)), (String
     ((Ascii (false, true, false, false, true, true, true, false)), (String
-    ((Ascii (true, false, false, true, false, true, true, false)), (String
     ((Ascii (true, true, true, false, false, true, true, false)), (String
-    ((Ascii (true, false, false, true, false, true, true, false)), (String
-    ((Ascii (false, true, true, true, false, true, true, false)), (String
     ((Ascii (true, false, false, false, false, true, true, false)), (String
+    ((Ascii (false, true, false, false, false, true, true, false)), (String
     ((Ascii (false, false, true, true, false, true, true, false)), (String
-    ((Ascii (true, false, true, false, false, false, true, false)), (String
-    ((Ascii (false, true, true, true, false, true, true, false)), (String
-    ((Ascii (false, false, true, false, true, true, true, false)), (String
-    ((Ascii (false, true, false, false, true, true, true, false)), (String
-    ((Ascii (true, false, false, true, true, true, true, false)), (String
-    ((Ascii (false, true, false, false, true, false, true, false)), (String
     ((Ascii (true, false, true, false, false, true, true, false)), (String
-    ((Ascii (false, false, true, false, true, true, true, false)), (String
-    ((Ascii (true, false, true, false, true, true, true, false)), (String
-    ((Ascii (false, true, false, false, true, true, true, false)), (String
-    ((Ascii (false, true, true, true, false, true, true, false)), (String
-    ((Ascii (true, false, true, false, false, true, true, false)), (String
-    ((Ascii (false, false, true, false, false, true, true, false)),
-    EmptyString)))))))))))))))))))))))))))))))))))))))))))))))))), (S (S (S
-    (S (S (S O)))))))) :: ((SStr ((String ((Ascii (true, true, true, true,
-    false, false, true, false)), (String ((Ascii (false, true, false, false,
-    true, true, true, false)), (String ((Ascii (true, false, false, true,
-    false, true, true, false)), (String ((Ascii (true, true, true, false,
-    false, true, true, false)), (String ((Ascii (true, false, false, true,
-    false, true, true, false)), (String ((Ascii (false, true, true, true,
-    false, true, true, false)), (String ((Ascii (true, false, false, false,
-    false, true, true, false)), (String ((Ascii (false, false, true, true,
-    false, true, true, false)), (String ((Ascii (false, true, false, false,
-    true, false, true, false)), (String ((Ascii (true, false, true, false,
-    false, true, true, false)), (String ((Ascii (true, true, false, false,
-    false, true, true, false)), (String ((Ascii (true, false, true, false,
-    false, true, true, false)), (String ((Ascii (true, false, false, true,
-    false, true, true, false)), (String ((Ascii (false, true, true, false,
-    true, true, true, false)), (String ((Ascii (true, false, false, true,
-    false, true, true, false)), (String ((Ascii (false, true, true, true,
-    false, true, true, false)), (String ((Ascii (true, true, true, false,
-    false, true, true, false)), (String ((Ascii (false, false, true, false,
-    false, false, true, false)), (String ((Ascii (false, true, true, false,
-    false, false, true, false)), (String ((Ascii (true, false, false, true,
-    false, false, true, false)), (String ((Ascii (true, false, false, true,
-    false, false, true, false)), (String ((Ascii (false, false, true, false,
-    false, true, true, false)), (String ((Ascii (true, false, true, false,
-    false, true, true, false)), (String ((Ascii (false, true, true, true,
-    false, true, true, false)), (String ((Ascii (false, false, true, false,
-    true, true, true, false)), (String ((Ascii (true, false, false, true,
-    false, true, true, false)), (String ((Ascii (false, true, true, false,
-    false, true, true, false)), (String ((Ascii (true, false, false, true,
-    false, true, true, false)), (String ((Ascii (true, true, false, false,
-    false, true, true, false)), (String ((Ascii (true, false, false, false,
-    false, true, true, false)), (String ((Ascii (false, false, true, false,
-    true, true, true, false)), (String ((Ascii (true, false, false, true,
-    false, true, true, false)), (String ((Ascii (true, true, true, true,
-    false, true, true, false)), (String ((Ascii (false, true, true, true,
-    false, true, true, false)),
-    EmptyString)))))))))))))))))))))))))))))))))))))))))))))))))))))))))))))))))))),
-    (S (S (S (S (S (S (S (S O)))))))))) :: ((SStr ((String ((Ascii (true,
-    true, true, true, false, false, true, false)), (String ((Ascii (false,
-    true, false, false, true, true, true, false)), (String ((Ascii (true,
-    false, false, true, false, true, true, false)), (String ((Ascii (true,
-    true, true, false, false, true, true, false)), (String ((Ascii (true,
-    false, false, true, false, true, true, false)), (String ((Ascii (false,
-    true, true, true, false, true, true, false)), (String ((Ascii (true,
-    false, false, false, false, true, true, false)), (String ((Ascii (false,
-    false, true, true, false, true, true, false)), (String ((Ascii (true,
-    true, false, false, true, false, true, false)), (String ((Ascii (true,
-    false, true, false, false, true, true, false)), (String ((Ascii (false,
-    false, true, false, true, true, true, false)), (String ((Ascii (false,
-    false, true, false, true, true, true, false)), (String ((Ascii (false,
-    false, true, true, false, true, true, false)), (String ((Ascii (true,
-    false, true, false, false, true, true, false)), (String ((Ascii (true,
-    false, true, true, false, true, true, false)), (String ((Ascii (true,
-    false, true, false, false, true, true, false)), (String ((Ascii (false,
-    true, true, true, false, true, true, false)), (String ((Ascii (false,
-    false, true, false, true, true, true, false)), (String ((Ascii (false,
-    false, true, false, false, false, true, false)), (String ((Ascii (true,
-    false, false, false, false, true, true, false)), (String ((Ascii (false,
-    false, true, false, true, true, true, false)), (String ((Ascii (true,
-    false, true, false, false, true, true, false)),
-    EmptyString)))))))))))))))))))))))))))))))))))))))))))), (S (S (S
-    O))))) :: ((SStr ((String ((Ascii (false, true, false, false, true,
-    false, true, false)), (String ((Ascii (true, false, true, false, false,
-    true, true, false)), (String ((Ascii (false, false, true, false, true,
-    true, true, false)), (String ((Ascii (true, false, true, false, true,
-    true, true, false)), (String ((Ascii (false, true, false, false, true,
-    true, true, false)), (String ((Ascii (false, true, true, true, false,
-    true, true, false)), (String ((Ascii (false, false, true, false, true,
-    false, true, false)), (String ((Ascii (false, true, false, false, true,
-    true, true, false)), (String ((Ascii (true, false, false, false, false,
-    true, true, false)), (String ((Ascii (true, true, false, false, false,
-    true, true, false)), (String ((Ascii (true, false, true, false, false,
-    true, true, false)), (String ((Ascii (false, true, true, true, false,
-    false, true, false)), (String ((Ascii (true, false, true, false, true,
-    true, true, false)), (String ((Ascii (true, false, true, true, false,
-    true, true, false)), (String ((Ascii (false, true, false, false, false,
-    true, true, false)), (String ((Ascii (true, false, true, false, false,
-    true, true, false)), (String ((Ascii (false, true, false, false, true,
-    true, true, false)), EmptyString)))))))))))))))))))))))))))))))))), (S (S
-    (S (S (S (S (S (S (S (S (S (S (S (S (S O))))))))))))))))) :: ((SStr
-    ((String ((Ascii (false, true, false, false, true, false, true, false)),
-    (String ((Ascii (true, false, true, false, false, true, true, false)),
-    (String ((Ascii (false, false, true, false, true, true, true, false)),
-    (String ((Ascii (true, false, true, false, true, true, true, false)),
-    (String ((Ascii (false, true, false, false, true, true, true, false)),
-    (String ((Ascii (false, true, true, true, false, true, true, false)),
-    (String ((Ascii (true, true, false, false, true, false, true, false)),
-    (String ((Ascii (true, false, true, false, false, true, true, false)),
-    (String ((Ascii (false, false, true, false, true, true, true, false)),
-    (String ((Ascii (false, false, true, false, true, true, true, false)),
-    (String ((Ascii (false, false, true, true, false, true, true, false)),
-    (String ((Ascii (true, false, true, false, false, true, true, false)),
-    (String ((Ascii (true, false, true, true, false, true, true, false)),
-    (String ((Ascii (true, false, true, false, false, true, true, false)),
-    (String ((Ascii (false, true, true, true, false, true, true, false)),
-    (String ((Ascii (false, false, true, false, true, true, true, false)),
-    (String ((Ascii (false, false, true, false, false, false, true, false)),
-    (String ((Ascii (true, false, false, false, false, true, true, false)),
-    (String ((Ascii (false, false, true, false, true, true, true, false)),
-    (String ((Ascii (true, false, true, false, false, true, true, false)),
-    EmptyString)))))))))))))))))))))))))))))))))))))))), (S (S (S
-    O))))) :: ((SStr ((String ((Ascii (false, true, false, false, true,
-    false, true, false)), (String ((Ascii (true, false, true, false, false,
-    true, true, false)), (String ((Ascii (false, false, true, false, true,
-    true, true, false)), (String ((Ascii (true, false, true, false, true,
-    true, true, false)), (String ((Ascii (false, true, false, false, true,
-    true, true, false)), (String ((Ascii (false, true, true, true, false,
-    true, true, false)), (String ((Ascii (false, true, false, false, true,
-    false, true, false)), (String ((Ascii (true, false, true, false, false,
-    true, true, false)), (String ((Ascii (true, false, false, false, false,
-    true, true, false)), (String ((Ascii (true, true, false, false, true,
-    true, true, false)), (String ((Ascii (true, true, true, true, false,
-    true, true, false)), (String ((Ascii (false, true, true, true, false,
-    true, true, false)), (String ((Ascii (true, true, false, false, false,
-    false, true, false)), (String ((Ascii (true, true, true, true, false,
-    true, true, false)), (String ((Ascii (false, false, true, false, false,
-    true, true, false)), (String ((Ascii (true, false, true, false, false,
-    true, true, false)), EmptyString)))))))))))))))))))))))))))))))), (S (S
-    O)))) :: ((SStr ((String ((Ascii (false, false, true, false, false,
-    false, true, false)), (String ((Ascii (true, false, false, true, false,
-    true, true, false)), (String ((Ascii (true, true, false, false, true,
-    true, true, false)), (String ((Ascii (false, false, false, true, false,
-    true, true, false)), (String ((Ascii (true, true, true, true, false,
-    true, true, false)), (String ((Ascii (false, true, true, true, false,
-    true, true, false)), (String ((Ascii (true, true, true, true, false,
-    true, true, false)), (String ((Ascii (false, true, false, false, true,
-    true, true, false)), (String ((Ascii (true, false, true, false, false,
-    true, true, false)), (String ((Ascii (false, false, true, false, false,
-    true, true, false)), (String ((Ascii (false, true, false, false, true,
-    false, true, false)), (String ((Ascii (true, false, true, false, false,
-    true, true, false)), (String ((Ascii (false, false, true, false, true,
-    true, true, false)), (String ((Ascii (true, false, true, false, true,
-    true, true, false)), (String ((Ascii (false, true, false, false, true,
-    true, true, false)), (String ((Ascii (false, true, true, true, false,
-    true, true, false)), (String ((Ascii (false, false, true, false, true,
-    false, true, false)), (String ((Ascii (false, true, false, false, true,
-    true, true, false)), (String ((Ascii (true, false, false, false, false,
-    true, true, false)), (String ((Ascii (true, true, false, false, false,
-    true, true, false)), (String ((Ascii (true, false, true, false, false,
-    true, true, false)), (String ((Ascii (false, true, true, true, false,
-    false, true, false)), (String ((Ascii (true, false, true, false, true,
-    true, true, false)), (String ((Ascii (true, false, true, true, false,
-    true, true, false)), (String ((Ascii (false, true, false, false, false,
-    true, true, false)), (String ((Ascii (true, false, true, false, false,
-    true, true, false)), (String ((Ascii (false, true, false, false, true,
-    true, true, false)),
-    EmptyString)))))))))))))))))))))))))))))))))))))))))))))))))))))), (S (S
-    (S (S (S (S (S (S (S (S (S (S (S (S (S O))))))))))))))))) :: ((SStr
-    ((String ((Ascii (false, false, true, false, false, false, true, false)),
-    (String ((Ascii (true, false, false, true, false, true, true, false)),
-    (String ((Ascii (true, true, false, false, true, true, true, false)),
-    (String ((Ascii (false, false, false, true, false, true, true, false)),
-    (String ((Ascii (true, true, true, true, false, true, true, false)),
-    (String ((Ascii (false, true, true, true, false, true, true, false)),
-    (String ((Ascii (true, true, true, true, false, true, true, false)),
-    (String ((Ascii (false, true, false, false, true, true, true, false)),
-    (String ((Ascii (true, false, true, false, false, true, true, false)),
-    (String ((Ascii (false, false, true, false, false, true, true, false)),
-    (String ((Ascii (false, true, false, false, true, false, true, false)),
-    (String ((Ascii (true, false, true, false, false, true, true, false)),
-    (String ((Ascii (false, false, true, false, true, true, true, false)),
-    (String ((Ascii (true, false, true, false, true, true, true, false)),
-    (String ((Ascii (false, true, false, false, true, true, true, false)),
-    (String ((Ascii (false, true, true, true, false, true, true, false)),
-    (String ((Ascii (true, true, false, false, true, false, true, false)),
-    (String ((Ascii (true, false, true, false, false, true, true, false)),
-    (String ((Ascii (false, false, true, false, true, true, true, false)),
-    (String ((Ascii (false, false, true, false, true, true, true, false)),
-    (String ((Ascii (false, false, true, true, false, true, true, false)),
-    (String ((Ascii (true, false, true, false, false, true, true, false)),
-    (String ((Ascii (true, false, true, true, false, true, true, false)),
-    (String ((Ascii (true, false, true, false, false, true, true, false)),
-    (String ((Ascii (false, true, true, true, false, true, true, false)),
-    (String ((Ascii (false, false, true, false, true, true, true, false)),
-    (String ((Ascii (false, false, true, false, false, false, true, false)),
-    (String ((Ascii (true, false, false, false, false, true, true, false)),
-    (String ((Ascii (false, false, true, false, true, true, true, false)),
-    (String ((Ascii (true, false, true, false, false, true, true, false)),
-    EmptyString)))))))))))))))))))))))))))))))))))))))))))))))))))))))))))),
-    (S (S (S O))))) :: ((SStr ((String ((Ascii (false, false, true, false,
-    false, false, true, false)), (String ((Ascii (true, false, false, true,
-    false, true, true, false)), (String ((Ascii (true, true, false, false,
-    true, true, true, false)), (String ((Ascii (false, false, false, true,
-    false, true, true, false)), (String ((Ascii (true, true, true, true,
-    false, true, true, false)), (String ((Ascii (false, true, true, true,
-    false, true, true, false)), (String ((Ascii (true, true, true, true,
-    false, true, true, false)), (String ((Ascii (false, true, false, false,
-    true, true, true, false)), (String ((Ascii (true, false, true, false,
-    false, true, true, false)), (String ((Ascii (false, false, true, false,
-    false, true, true, false)), (String ((Ascii (false, true, false, false,
-    true, false, true, false)), (String ((Ascii (true, false, true, false,
-    false, true, true, false)), (String ((Ascii (false, false, true, false,
-    true, true, true, false)), (String ((Ascii (true, false, true, false,
-    true, true, true, false)), (String ((Ascii (false, true, false, false,
-    true, true, true, false)), (String ((Ascii (false, true, true, true,
-    false, true, true, false)), (String ((Ascii (false, true, false, false,
-    true, false, true, false)), (String ((Ascii (true, false, true, false,
-    false, true, true, false)), (String ((Ascii (true, false, false, false,
-    false, true, true, false)), (String ((Ascii (true, true, false, false,
-    true, true, true, false)), (String ((Ascii (true, true, true, true,
-    false, true, true, false)), (String ((Ascii (false, true, true, true,
-    false, true, true, false)), (String ((Ascii (true, true, false, false,
-    false, false, true, false)), (String ((Ascii (true, true, true, true,
-    false, true, true, false)), (String ((Ascii (false, false, true, false,
-    false, true, true, false)), (String ((Ascii (true, false, true, false,
-    false, true, true, false)),
-    EmptyString)))))))))))))))))))))))))))))))))))))))))))))))))))), (S (S
-    O)))) :: ((SLit ((Npos (XO (XO (XO (XO (XO XH)))))) :: [])) :: ((SStr
-    ((String ((Ascii (false, false, true, false, true, false, true, false)),
-    (String ((Ascii (false, true, false, false, true, true, true, false)),
-    (String ((Ascii (true, false, false, false, false, true, true, false)),
-    (String ((Ascii (true, true, false, false, false, true, true, false)),
-    (String ((Ascii (true, false, true, false, false, true, true, false)),
-    (String ((Ascii (false, true, true, true, false, false, true, false)),
-    (String ((Ascii (true, false, true, false, true, true, true, false)),
-    (String ((Ascii (true, false, true, true, false, true, true, false)),
-    (String ((Ascii (false, true, false, false, false, true, true, false)),
-    (String ((Ascii (true, false, true, false, false, true, true, false)),
-    (String ((Ascii (false, true, false, false, true, true, true, false)),
-    EmptyString)))))))))))))))))))))), (S (S (S (S (S (S (S (S (S (S (S (S (S
-    (S (S O))))))))))))))))) :: []))))))))))))))); l_cuts =
-    ((mkcut O (S O) EmptyString []) :: ((mkcut (S O) (S (S (S O))) (String
-                                          ((Ascii (false, false, true, false,
-                                          true, false, true, false)), (String
-                                          ((Ascii (true, false, false, true,
-                                          true, true, true, false)), (String
-                                          ((Ascii (false, false, false,
-                                          false, true, true, true, false)),
-                                          (String ((Ascii (true, false, true,
-                                          false, false, true, true, false)),
-                                          (String ((Ascii (true, true, false,
-                                          false, false, false, true, false)),
-                                          (String ((Ascii (true, true, true,
-                                          true, false, true, true, false)),
-                                          (String ((Ascii (false, false,
-                                          true, false, false, true, true,
-                                          false)), (String ((Ascii (true,
-                                          false, true, false, false, true,
-                                          true, false)),
-                                          EmptyString)))))))))))))))) []) :: (
-    (mkcut (S (S (S O))) (S (S (S (S (S (S O)))))) (String ((Ascii (true,
-      true, false, false, false, false, true, false)), (String ((Ascii (true,
-      true, true, true, false, true, true, false)), (String ((Ascii (false,
-      true, true, true, false, true, true, false)), (String ((Ascii (false,
-      false, true, false, true, true, true, false)), (String ((Ascii (true,
-      false, true, false, false, true, true, false)), (String ((Ascii (true,
-      true, false, false, true, true, true, false)), (String ((Ascii (false,
-      false, true, false, true, true, true, false)), (String ((Ascii (true,
-      false, true, false, false, true, true, false)), (String ((Ascii (false,
-      false, true, false, false, true, true, false)), (String ((Ascii (false,
-      true, false, false, true, false, true, false)), (String ((Ascii (true,
-      false, true, false, false, true, true, false)), (String ((Ascii (false,
-      false, true, false, true, true, true, false)), (String ((Ascii (true,
-      false, true, false, true, true, true, false)), (String ((Ascii (false,
-      true, false, false, true, true, true, false)), (String ((Ascii (false,
-      true, true, true, false, true, true, false)), (String ((Ascii (true,
-      true, false, false, false, false, true, false)), (String ((Ascii (true,
-      true, true, true, false, true, true, false)), (String ((Ascii (false,
-      false, true, false, false, true, true, false)), (String ((Ascii (true,
-      false, true, false, false, true, true, false)),
-      EmptyString)))))))))))))))))))))))))))))))))))))) []) :: ((mkcut (S (S
-                                                                  (S (S (S (S
-                                                                  O)))))) (S
-                                                                  (S (S (S (S
-                                                                  (S (S (S (S
-                                                                  (S (S (S (S
-                                                                  (S (S (S (S
-                                                                  (S (S (S (S
-                                                                  O)))))))))))))))))))))
-                                                                  (String
-                                                                  ((Ascii
-                                                                  (true,
-                                                                  true, true,
-                                                                  true,
-                                                                  false,
-                                                                  false,
-                                                                  true,
-                                                                  false)),
-                                                                  (String
-                                                                  ((Ascii
-                                                                  (false,
-                                                                  true,
-                                                                  false,
-                                                                  false,
-                                                                  true, true,
-                                                                  true,
-                                                                  false)),
-                                                                  (String
-                                                                  ((Ascii
-                                                                  (true,
-                                                                  false,
-                                                                  false,
-                                                                  true,
-                                                                  false,
-                                                                  true, true,
-                                                                  false)),
-                                                                  (String
-                                                                  ((Ascii
-                                                                  (true,
-                                                                  true, true,
-                                                                  false,
-                                                                  false,
-                                                                  true, true,
-                                                                  false)),
-                                                                  (String
-                                                                  ((Ascii
-                                                                  (true,
-                                                                  false,
-                                                                  false,
-                                                                  true,
-                                                                  false,
-                                                                  true, true,
-                                                                  false)),
-                                                                  (String
-                                                                  ((Ascii
-                                                                  (false,
-                                                                  true, true,
-                                                                  true,
-                                                                  false,
-                                                                  true, true,
-                                                                  false)),
-                                                                  (String
-                                                                  ((Ascii
-                                                                  (true,
-                                                                  false,
-                                                                  false,
-                                                                  false,
-                                                                  false,
-                                                                  true, true,
-                                                                  false)),
-                                                                  (String
-                                                                  ((Ascii
-                                                                  (false,
-                                                                  false,
-                                                                  true, true,
-                                                                  false,
-                                                                  true, true,
-                                                                  false)),
-                                                                  (String
-                                                                  ((Ascii
-                                                                  (true,
-                                                                  false,
-                                                                  true,
-                                                                  false,
-                                                                  false,
-                                                                  false,
-                                                                  true,
-                                                                  false)),
-                                                                  (String
-                                                                  ((Ascii
-                                                                  (false,
-                                                                  true, true,
-                                                                  true,
-                                                                  false,
-                                                                  true, true,
-                                                                  false)),
-                                                                  (String
-                                                                  ((Ascii
-                                                                  (false,
-                                                                  false,
-                                                                  true,
-                                                                  false,
-                                                                  true, true,
-                                                                  true,
-                                                                  false)),
-                                                                  (String
-                                                                  ((Ascii
-                                                                  (false,
-                                                                  true,
-                                                                  false,
-                                                                  false,
-                                                                  true, true,
-                                                                  true,
-                                                                  false)),
-                                                                  (String
-                                                                  ((Ascii
-                                                                  (true,
-                                                                  false,
-                                                                  false,
-                                                                  true, true,
-                                                                  true, true,
-                                                                  false)),
-                                                                  (String
-                                                                  ((Ascii
-                                                                  (false,
-                                                                  false,
-                                                                  true,
-                                                                  false,
-                                                                  true,
-                                                                  false,
-                                                                  true,
-                                                                  false)),
-                                                                  (String
-                                                                  ((Ascii
-                                                                  (false,
-                                                                  true,
-                                                                  false,
-                                                                  false,
-                                                                  true, true,
-                                                                  true,
-                                                                  false)),
-                                                                  (String
-                                                                  ((Ascii
-                                                                  (true,
-                                                                  false,
-                                                                  false,
-                                                                  false,
-                                                                  false,
-                                                                  true, true,
-                                                                  false)),
-                                                                  (String
-                                                                  ((Ascii
-                                                                  (true,
-                                                                  true,
-                                                                  false,
-                                                                  false,
-                                                                  false,
-                                                                  true, true,
-                                                                  false)),
-                                                                  (String
-                                                                  ((Ascii
-                                                                  (true,
-                                                                  false,
-                                                                  true,
-                                                                  false,
-                                                                  false,
-                                                                  true, true,
-                                                                  false)),
-                                                                  (String
-                                                                  ((Ascii
-                                                                  (false,
-                                                                  true, true,
-                                                                  true,
-                                                                  false,
-                                                                  false,
-                                                                  true,
-                                                                  false)),
-                                                                  (String
-                                                                  ((Ascii
-                                                                  (true,
-                                                                  false,
-                                                                  true,
-                                                                  false,
-                                                                  true, true,
-                                                                  true,
-                                                                  false)),
-                                                                  (String
-                                                                  ((Ascii
-                                                                  (true,
-                                                                  false,
-                                                                  true, true,
-                                                                  false,
-                                                                  true, true,
-                                                                  false)),
-                                                                  (String
-                                                                  ((Ascii
-                                                                  (false,
-                                                                  true,
-                                                                  false,
-                                                                  false,
-                                                                  false,
-                                                                  true, true,
-                                                                  false)),
-                                                                  (String
-                                                                  ((Ascii
-                                                                  (true,
-                                                                  false,
-                                                                  true,
-                                                                  false,
-                                                                  false,
-                                                                  true, true,
-                                                                  false)),
-                                                                  (String
-                                                                  ((Ascii
-                                                                  (false,
-                                                                  true,
-                                                                  false,
-                                                                  false,
-                                                                  true, true,
-                                                                  true,
-                                                                  false)),
-                                                                  EmptyString))))))))))))))))))))))))))))))))))))))))))))))))
-                                                                  []) :: (
-    (mkcut (S (S (S (S (S (S (S (S (S (S (S (S (S (S (S (S (S (S (S (S (S
-      O))))))))))))))))))))) (S (S (S (S (S (S (S (S (S (S (S (S (S (S (S (S
-      (S (S (S (S (S (S (S (S (S (S (S O))))))))))))))))))))))))))) (String
-      ((Ascii (false, false, true, false, false, false, true, false)),
-      (String ((Ascii (true, false, false, false, false, true, true, false)),
-      (String ((Ascii (false, false, true, false, true, true, true, false)),
-      (String ((Ascii (true, false, true, false, false, true, true, false)),
-      (String ((Ascii (true, true, true, true, false, false, true, false)),
-      (String ((Ascii (false, true, false, false, true, true, true, false)),
-      (String ((Ascii (true, false, false, true, false, true, true, false)),
-      (String ((Ascii (true, true, true, false, false, true, true, false)),
-      (String ((Ascii (true, false, false, true, false, true, true, false)),
-      (String ((Ascii (false, true, true, true, false, true, true, false)),
-      (String ((Ascii (true, false, false, false, false, true, true, false)),
-      (String ((Ascii (false, false, true, true, false, true, true, false)),
-      (String ((Ascii (true, false, true, false, false, false, true, false)),
-      (String ((Ascii (false, true, true, true, false, true, true, false)),
-      (String ((Ascii (false, false, true, false, true, true, true, false)),
-      (String ((Ascii (false, true, false, false, true, true, true, false)),
-      (String ((Ascii (true, false, false, true, true, true, true, false)),
-      (String ((Ascii (false, true, false, false, true, false, true, false)),
-      (String ((Ascii (true, false, true, false, false, true, true, false)),
-      (String ((Ascii (false, false, true, false, true, true, true, false)),
-      (String ((Ascii (true, false, true, false, true, true, true, false)),
-      (String ((Ascii (false, true, false, false, true, true, true, false)),
-      (String ((Ascii (false, true, true, true, false, true, true, false)),
-      (String ((Ascii (true, false, true, false, false, true, true, false)),
-      (String ((Ascii (false, false, true, false, false, true, true, false)),
-      EmptyString)))))))))))))))))))))))))))))))))))))))))))))))))) []) :: (
-    (mkcut (S (S (S (S (S (S (S (S (S (S (S (S (S (S (S (S (S (S (S (S (S (S
-      (S (S (S (S (S O))))))))))))))))))))))))))) (S (S (S (S (S (S (S (S (S
-      (S (S (S (S (S (S (S (S (S (S (S (S (S (S (S (S (S (S (S (S (S (S (S (S
-      (S (S O))))))))))))))))))))))))))))))))))) (String ((Ascii (true, true,
-      true, true, false, false, true, false)), (String ((Ascii (false, true,
-      false, false, true, true, true, false)), (String ((Ascii (true, false,
-      false, true, false, true, true, false)), (String ((Ascii (true, true,
-      true, false, false, true, true, false)), (String ((Ascii (true, false,
-      false, true, false, true, true, false)), (String ((Ascii (false, true,
-      true, true, false, true, true, false)), (String ((Ascii (true, false,
-      false, false, false, true, true, false)), (String ((Ascii (false,
-      false, true, true, false, true, true, false)), (String ((Ascii (false,
-      true, false, false, true, false, true, false)), (String ((Ascii (true,
-      false, true, false, false, true, true, false)), (String ((Ascii (true,
-      true, false, false, false, true, true, false)), (String ((Ascii (true,
-      false, true, false, false, true, true, false)), (String ((Ascii (true,
-      false, false, true, false, true, true, false)), (String ((Ascii (false,
-      true, true, false, true, true, true, false)), (String ((Ascii (true,
-      false, false, true, false, true, true, false)), (String ((Ascii (false,
-      true, true, true, false, true, true, false)), (String ((Ascii (true,
-      true, true, false, false, true, true, false)), (String ((Ascii (false,
-      false, true, false, false, false, true, false)), (String ((Ascii
-      (false, true, true, false, false, false, true, false)), (String ((Ascii
-      (true, false, false, true, false, false, true, false)), (String ((Ascii
-      (true, false, false, true, false, false, true, false)), (String ((Ascii
-      (false, false, true, false, false, true, true, false)), (String ((Ascii
-      (true, false, true, false, false, true, true, false)), (String ((Ascii
-      (false, true, true, true, false, true, true, false)), (String ((Ascii
-      (false, false, true, false, true, true, true, false)), (String ((Ascii
-      (true, false, false, true, false, true, true, false)), (String ((Ascii
-      (false, true, true, false, false, true, true, false)), (String ((Ascii
-      (true, false, false, true, false, true, true, false)), (String ((Ascii
-      (true, true, false, false, false, true, true, false)), (String ((Ascii
-      (true, false, false, false, false, true, true, false)), (String ((Ascii
-      (false, false, true, false, true, true, true, false)), (String ((Ascii
-      (true, false, false, true, false, true, true, false)), (String ((Ascii
-      (true, true, true, true, false, true, true, false)), (String ((Ascii
-      (false, true, true, true, false, true, true, false)),
-      EmptyString))))))))))))))))))))))))))))))))))))))))))))))))))))))))))))))))))))
-      []) :: ((mkcut (S (S (S (S (S (S (S (S (S (S (S (S (S (S (S (S (S (S (S
-                (S (S (S (S (S (S (S (S (S (S (S (S (S (S (S (S
-                O))))))))))))))))))))))))))))))))))) (S (S (S (S (S (S (S (S
-                (S (S (S (S (S (S (S (S (S (S (S (S (S (S (S (S (S (S (S (S
-                (S (S (S (S (S (S (S (S (S (S
-                O)))))))))))))))))))))))))))))))))))))) (String ((Ascii
-                (true, true, true, true, false, false, true, false)), (String
-                ((Ascii (false, true, false, false, true, true, true,
-                false)), (String ((Ascii (true, false, false, true, false,
-                true, true, false)), (String ((Ascii (true, true, true,
-                false, false, true, true, false)), (String ((Ascii (true,
-                false, false, true, false, true, true, false)), (String
-                ((Ascii (false, true, true, true, false, true, true, false)),
-                (String ((Ascii (true, false, false, false, false, true,
-                true, false)), (String ((Ascii (false, false, true, true,
-                false, true, true, false)), (String ((Ascii (true, true,
-                false, false, true, false, true, false)), (String ((Ascii
-                (true, false, true, false, false, true, true, false)),
-                (String ((Ascii (false, false, true, false, true, true, true,
-                false)), (String ((Ascii (false, false, true, false, true,
-                true, true, false)), (String ((Ascii (false, false, true,
-                true, false, true, true, false)), (String ((Ascii (true,
-                false, true, false, false, true, true, false)), (String
-                ((Ascii (true, false, true, true, false, true, true, false)),
-                (String ((Ascii (true, false, true, false, false, true, true,
-                false)), (String ((Ascii (false, true, true, true, false,
-                true, true, false)), (String ((Ascii (false, false, true,
-                false, true, true, true, false)), (String ((Ascii (false,
-                false, true, false, false, false, true, false)), (String
-                ((Ascii (true, false, false, false, false, true, true,
-                false)), (String ((Ascii (false, false, true, false, true,
-                true, true, false)), (String ((Ascii (true, false, true,
-                false, false, true, true, false)),
-                EmptyString)))))))))))))))))))))))))))))))))))))))))))) []) :: (
-    (mkcut (S (S (S (S (S (S (S (S (S (S (S (S (S (S (S (S (S (S (S (S (S (S
-      (S (S (S (S (S (S (S (S (S (S (S (S (S (S (S (S
-      O)))))))))))))))))))))))))))))))))))))) (S (S (S (S (S (S (S (S (S (S
-      (S (S (S (S (S (S (S (S (S (S (S (S (S (S (S (S (S (S (S (S (S (S (S (S
-      (S (S (S (S (S (S (S (S (S (S (S (S (S (S (S (S (S (S (S
-      O))))))))))))))))))))))))))))))))))))))))))))))))))))) (String ((Ascii
-      (false, true, false, false, true, false, true, false)), (String ((Ascii
-      (true, false, true, false, false, true, true, false)), (String ((Ascii
-      (false, false, true, false, true, true, true, false)), (String ((Ascii
-      (true, false, true, false, true, true, true, false)), (String ((Ascii
-      (false, true, false, false, true, true, true, false)), (String ((Ascii
-      (false, true, true, true, false, true, true, false)), (String ((Ascii
-      (false, false, true, false, true, false, true, false)), (String ((Ascii
-      (false, true, false, false, true, true, true, false)), (String ((Ascii
-      (true, false, false, false, false, true, true, false)), (String ((Ascii
-      (true, true, false, false, false, true, true, false)), (String ((Ascii
-      (true, false, true, false, false, true, true, false)), (String ((Ascii
-      (false, true, true, true, false, false, true, false)), (String ((Ascii
-      (true, false, true, false, true, true, true, false)), (String ((Ascii
-      (true, false, true, true, false, true, true, false)), (String ((Ascii
-      (false, true, false, false, false, true, true, false)), (String ((Ascii
-      (true, false, true, false, false, true, true, false)), (String ((Ascii
-      (false, true, false, false, true, true, true, false)),
-      EmptyString)))))))))))))))))))))))))))))))))) []) :: ((mkcut (S (S (S
-                                                              (S (S (S (S (S
-                                                              (S (S (S (S (S
-                                                              (S (S (S (S (S
-                                                              (S (S (S (S (S
-                                                              (S (S (S (S (S
-                                                              (S (S (S (S (S
-                                                              (S (S (S (S (S
-                                                              (S (S (S (S (S
-                                                              (S (S (S (S (S
-                                                              (S (S (S (S (S
-                                                              O)))))))))))))))))))))))))))))))))))))))))))))))))))))
-                                                              (S (S (S (S (S
-                                                              (S (S (S (S (S
-                                                              (S (S (S (S (S
-                                                              (S (S (S (S (S
-                                                              (S (S (S (S (S
-                                                              (S (S (S (S (S
-                                                              (S (S (S (S (S
-                                                              (S (S (S (S (S
-                                                              (S (S (S (S (S
-                                                              (S (S (S (S (S
-                                                              (S (S (S (S (S
-                                                              (S
-                                                              O))))))))))))))))))))))))))))))))))))))))))))))))))))))))
-                                                              (String ((Ascii
-                                                              (false, true,
-                                                              false, false,
-                                                              true, false,
-                                                              true, false)),
-                                                              (String ((Ascii
-                                                              (true, false,
-                                                              true, false,
-                                                              false, true,
-                                                              true, false)),
-                                                              (String ((Ascii
-                                                              (false, false,
-                                                              true, false,
-                                                              true, true,
-                                                              true, false)),
-                                                              (String ((Ascii
-                                                              (true, false,
-                                                              true, false,
-                                                              true, true,
-                                                              true, false)),
-                                                              (String ((Ascii
-                                                              (false, true,
-                                                              false, false,
-                                                              true, true,
-                                                              true, false)),
-                                                              (String ((Ascii
-                                                              (false, true,
-                                                              true, true,
-                                                              false, true,
-                                                              true, false)),
-                                                              (String ((Ascii
-                                                              (true, true,
-                                                              false, false,
-                                                              true, false,
-                                                              true, false)),
-                                                              (String ((Ascii
-                                                              (true, false,
-                                                              true, false,
-                                                              false, true,
-                                                              true, false)),
-                                                              (String ((Ascii
-                                                              (false, false,
-                                                              true, false,
-                                                              true, true,
-                                                              true, false)),
-                                                              (String ((Ascii
-                                                              (false, false,
-                                                              true, false,
-                                                              true, true,
-                                                              true, false)),
-                                                              (String ((Ascii
-                                                              (false, false,
-                                                              true, true,
-                                                              false, true,
-                                                              true, false)),
-                                                              (String ((Ascii
-                                                              (true, false,
-                                                              true, false,
-                                                              false, true,
-                                                              true, false)),
-                                                              (String ((Ascii
-                                                              (true, false,
-                                                              true, true,
-                                                              false, true,
-                                                              true, false)),
-                                                              (String ((Ascii
-                                                              (true, false,
-                                                              true, false,
-                                                              false, true,
-                                                              true, false)),
-                                                              (String ((Ascii
-                                                              (false, true,
-                                                              true, true,
-                                                              false, true,
-                                                              true, false)),
-                                                              (String ((Ascii
-                                                              (false, false,
-                                                              true, false,
-                                                              true, true,
-                                                              true, false)),
-                                                              (String ((Ascii
-                                                              (false, false,
-                                                              true, false,
-                                                              false, false,
-                                                              true, false)),
-                                                              (String ((Ascii
-                                                              (true, false,
-                                                              false, false,
-                                                              false, true,
-                                                              true, false)),
-                                                              (String ((Ascii
-                                                              (false, false,
-                                                              true, false,
-                                                              true, true,
-                                                              true, false)),
-                                                              (String ((Ascii
-                                                              (true, false,
-                                                              true, false,
-                                                              false, true,
-                                                              true, false)),
-                                                              EmptyString))))))))))))))))))))))))))))))))))))))))
-                                                              []) :: (
-    (mkcut (S (S (S (S (S (S (S (S (S (S (S (S (S (S (S (S (S (S (S (S (S (S
-      (S (S (S (S (S (S (S (S (S (S (S (S (S (S (S (S (S (S (S (S (S (S (S (S
-      (S (S (S (S (S (S (S (S (S (S
-      O)))))))))))))))))))))))))))))))))))))))))))))))))))))))) (S (S (S (S
-      (S (S (S (S (S (S (S (S (S (S (S (S (S (S (S (S (S (S (S (S (S (S (S (S
-      (S (S (S (S (S (S (S (S (S (S (S (S (S (S (S (S (S (S (S (S (S (S (S (S
-      (S (S (S (S (S (S
-      O)))))))))))))))))))))))))))))))))))))))))))))))))))))))))) (String
-      ((Ascii (false, true, false, false, true, false, true, false)), (String
-      ((Ascii (true, false, true, false, false, true, true, false)), (String
-      ((Ascii (false, false, true, false, true, true, true, false)), (String
-      ((Ascii (true, false, true, false, true, true, true, false)), (String
-      ((Ascii (false, true, false, false, true, true, true, false)), (String
-      ((Ascii (false, true, true, true, false, true, true, false)), (String
-      ((Ascii (false, true, false, false, true, false, true, false)), (String
-      ((Ascii (true, false, true, false, false, true, true, false)), (String
-      ((Ascii (true, false, false, false, false, true, true, false)), (String
-      ((Ascii (true, true, false, false, true, true, true, false)), (String
-      ((Ascii (true, true, true, true, false, true, true, false)), (String
-      ((Ascii (false, true, true, true, false, true, true, false)), (String
-      ((Ascii (true, true, false, false, false, false, true, false)), (String
-      ((Ascii (true, true, true, true, false, true, true, false)), (String
-      ((Ascii (false, false, true, false, false, true, true, false)), (String
-      ((Ascii (true, false, true, false, false, true, true, false)),
-      EmptyString)))))))))))))))))))))))))))))))) []) :: ((mkcut (S (S (S (S
-                                                            (S (S (S (S (S (S
-                                                            (S (S (S (S (S (S
-                                                            (S (S (S (S (S (S
-                                                            (S (S (S (S (S (S
-                                                            (S (S (S (S (S (S
-                                                            (S (S (S (S (S (S
-                                                            (S (S (S (S (S (S
-                                                            (S (S (S (S (S (S
-                                                            (S (S (S (S (S (S
-                                                            O))))))))))))))))))))))))))))))))))))))))))))))))))))))))))
-                                                            (S (S (S (S (S (S
-                                                            (S (S (S (S (S (S
-                                                            (S (S (S (S (S (S
-                                                            (S (S (S (S (S (S
-                                                            (S (S (S (S (S (S
-                                                            (S (S (S (S (S (S
-                                                            (S (S (S (S (S (S
-                                                            (S (S (S (S (S (S
-                                                            (S (S (S (S (S (S
-                                                            (S (S (S (S (S (S
-                                                            (S (S (S (S (S (S
-                                                            (S (S (S (S (S (S
-                                                            (S
-                                                            O)))))))))))))))))))))))))))))))))))))))))))))))))))))))))))))))))))))))))
-                                                            (String ((Ascii
-                                                            (false, false,
-                                                            true, false,
-                                                            false, false,
-                                                            true, false)),
-                                                            (String ((Ascii
-                                                            (true, false,
-                                                            false, true,
-                                                            false, true,
-                                                            true, false)),
-                                                            (String ((Ascii
-                                                            (true, true,
-                                                            false, false,
-                                                            true, true, true,
-                                                            false)), (String
-                                                            ((Ascii (false,
-                                                            false, false,
-                                                            true, false,
-                                                            true, true,
-                                                            false)), (String
-                                                            ((Ascii (true,
-                                                            true, true, true,
-                                                            false, true,
-                                                            true, false)),
-                                                            (String ((Ascii
-                                                            (false, true,
-                                                            true, true,
-                                                            false, true,
-                                                            true, false)),
-                                                            (String ((Ascii
-                                                            (true, true,
-                                                            true, true,
-                                                            false, true,
-                                                            true, false)),
-                                                            (String ((Ascii
-                                                            (false, true,
-                                                            false, false,
-                                                            true, true, true,
-                                                            false)), (String
-                                                            ((Ascii (true,
-                                                            false, true,
-                                                            false, false,
-                                                            true, true,
-                                                            false)), (String
-                                                            ((Ascii (false,
-                                                            false, true,
-                                                            false, false,
-                                                            true, true,
-                                                            false)), (String
-                                                            ((Ascii (false,
-                                                            true, false,
-                                                            false, true,
-                                                            false, true,
-                                                            false)), (String
-                                                            ((Ascii (true,
-                                                            false, true,
-                                                            false, false,
-                                                            true, true,
-                                                            false)), (String
-                                                            ((Ascii (false,
-                                                            false, true,
-                                                            false, true,
-                                                            true, true,
-                                                            false)), (String
-                                                            ((Ascii (true,
-                                                            false, true,
-                                                            false, true,
-                                                            true, true,
-                                                            false)), (String
-                                                            ((Ascii (false,
-                                                            true, false,
-                                                            false, true,
-                                                            true, true,
-                                                            false)), (String
-                                                            ((Ascii (false,
-                                                            true, true, true,
-                                                            false, true,
-                                                            true, false)),
-                                                            (String ((Ascii
-                                                            (false, false,
-                                                            true, false,
-                                                            true, false,
-                                                            true, false)),
-                                                            (String ((Ascii
-                                                            (false, true,
-                                                            false, false,
-                                                            true, true, true,
-                                                            false)), (String
-                                                            ((Ascii (true,
-                                                            false, false,
-                                                            false, false,
-                                                            true, true,
-                                                            false)), (String
-                                                            ((Ascii (true,
-                                                            true, false,
-                                                            false, false,
-                                                            true, true,
-                                                            false)), (String
-                                                            ((Ascii (true,
-                                                            false, true,
-                                                            false, false,
-                                                            true, true,
-                                                            false)), (String
-                                                            ((Ascii (false,
-                                                            true, true, true,
-                                                            false, false,
-                                                            true, false)),
-                                                            (String ((Ascii
-                                                            (true, false,
-                                                            true, false,
-                                                            true, true, true,
-                                                            false)), (String
-                                                            ((Ascii (true,
-                                                            false, true,
-                                                            true, false,
-                                                            true, true,
-                                                            false)), (String
-                                                            ((Ascii (false,
-                                                            true, false,
-                                                            false, false,
-                                                            true, true,
-                                                            false)), (String
-                                                            ((Ascii (true,
-                                                            false, true,
-                                                            false, false,
-                                                            true, true,
-                                                            false)), (String
-                                                            ((Ascii (false,
-                                                            true, false,
-                                                            false, true,
-                                                            true, true,
-                                                            false)),
-                                                            EmptyString))))))))))))))))))))))))))))))))))))))))))))))))))))))
-                                                            []) :: ((mkcut (S
-                                                                    (S (S (S
-                                                                    (S (S (S
-                                                                    (S (S (S
-                                                                    (S (S (S
-                                                                    (S (S (S
-                                                                    (S (S (S
-                                                                    (S (S (S
-                                                                    (S (S (S
-                                                                    (S (S (S
-                                                                    (S (S (S
-                                                                    (S (S (S
-                                                                    (S (S (S
-                                                                    (S (S (S
-                                                                    (S (S (S
-                                                                    (S (S (S
-                                                                    (S (S (S
-                                                                    (S (S (S
-                                                                    (S (S (S
-                                                                    (S (S (S
-                                                                    (S (S (S
-                                                                    (S (S (S
-                                                                    (S (S (S
-                                                                    (S (S (S
-                                                                    (S (S (S
-                                                                    O)))))))))))))))))))))))))))))))))))))))))))))))))))))))))))))))))))))))))
-                                                                    (S (S (S
-                                                                    (S (S (S
-                                                                    (S (S (S
-                                                                    (S (S (S
-                                                                    (S (S (S
-                                                                    (S (S (S
-                                                                    (S (S (S
-                                                                    (S (S (S
-                                                                    (S (S (S
-                                                                    (S (S (S
-                                                                    (S (S (S
-                                                                    (S (S (S
-                                                                    (S (S (S
-                                                                    (S (S (S
-                                                                    (S (S (S
-                                                                    (S (S (S
-                                                                    (S (S (S
-                                                                    (S (S (S
-                                                                    (S (S (S
-                                                                    (S (S (S
-                                                                    (S (S (S
-                                                                    (S (S (S
-                                                                    (S (S (S
-                                                                    (S (S (S
-                                                                    (S (S (S
-                                                                    (S
-                                                                    O))))))))))))))))))))))))))))))))))))))))))))))))))))))))))))))))))))))))))))
-                                                                    (String
-                                                                    ((Ascii
-                                                                    (false,
-                                                                    false,
-                                                                    true,
-                                                                    false,
-                                                                    false,
-                                                                    false,
-                                                                    true,
-                                                                    false)),
-                                                                    (String
-                                                                    ((Ascii
-                                                                    (true,
-                                                                    false,
-                                                                    false,
-                                                                    true,
-                                                                    false,
-                                                                    true,
-                                                                    true,
-                                                                    false)),
-                                                                    (String
-                                                                    ((Ascii
-                                                                    (true,
-                                                                    true,
-                                                                    false,
-                                                                    false,
-                                                                    true,
-                                                                    true,
-                                                                    true,
-                                                                    false)),
-                                                                    (String
-                                                                    ((Ascii
-                                                                    (false,
-                                                                    false,
-                                                                    false,
-                                                                    true,
-                                                                    false,
-                                                                    true,
-                                                                    true,
-                                                                    false)),
-                                                                    (String
-                                                                    ((Ascii
-                                                                    (true,
-                                                                    true,
-                                                                    true,
-                                                                    true,
-                                                                    false,
-                                                                    true,
-                                                                    true,
-                                                                    false)),
-                                                                    (String
-                                                                    ((Ascii
-                                                                    (false,
-                                                                    true,
-                                                                    true,
-                                                                    true,
-                                                                    false,
-                                                                    true,
-                                                                    true,
-                                                                    false)),
-                                                                    (String
-                                                                    ((Ascii
-                                                                    (true,
-                                                                    true,
-                                                                    true,
-                                                                    true,
-                                                                    false,
-                                                                    true,
-                                                                    true,
-                                                                    false)),
-                                                                    (String
-                                                                    ((Ascii
-                                                                    (false,
-                                                                    true,
-                                                                    false,
-                                                                    false,
-                                                                    true,
-                                                                    true,
-                                                                    true,
-                                                                    false)),
-                                                                    (String
-                                                                    ((Ascii
-                                                                    (true,
-                                                                    false,
-                                                                    true,
-                                                                    false,
-                                                                    false,
-                                                                    true,
-                                                                    true,
-                                                                    false)),
-                                                                    (String
-                                                                    ((Ascii
-                                                                    (false,
-                                                                    false,
-                                                                    true,
-                                                                    false,
-                                                                    false,
-                                                                    true,
-                                                                    true,
-                                                                    false)),
-                                                                    (String
-                                                                    ((Ascii
-                                                                    (false,
-                                                                    true,
-                                                                    false,
-                                                                    false,
-                                                                    true,
-                                                                    false,
-                                                                    true,
-                                                                    false)),
-                                                                    (String
-                                                                    ((Ascii
-                                                                    (true,
-                                                                    false,
-                                                                    true,
-                                                                    false,
-                                                                    false,
-                                                                    true,
-                                                                    true,
-                                                                    false)),
-                                                                    (String
-                                                                    ((Ascii
-                                                                    (false,
-                                                                    false,
-                                                                    true,
-                                                                    false,
-                                                                    true,
-                                                                    true,
-                                                                    true,
-                                                                    false)),
-                                                                    (String
-                                                                    ((Ascii
-                                                                    (true,
-                                                                    false,
-                                                                    true,
-                                                                    false,
-                                                                    true,
-                                                                    true,
-                                                                    true,
-                                                                    false)),
-                                                                    (String
-                                                                    ((Ascii
-                                                                    (false,
-                                                                    true,
-                                                                    false,
-                                                                    false,
-                                                                    true,
-                                                                    true,
-                                                                    true,
-                                                                    false)),
-                                                                    (String
-                                                                    ((Ascii
-                                                                    (false,
-                                                                    true,
-                                                                    true,
-                                                                    true,
-                                                                    false,
-                                                                    true,
-                                                                    true,
-                                                                    false)),
-                                                                    (String
-                                                                    ((Ascii
-                                                                    (true,
-                                                                    true,
-                                                                    false,
-                                                                    false,
-                                                                    true,
-                                                                    false,
-                                                                    true,
-                                                                    false)),
-                                                                    (String
-                                                                    ((Ascii
-                                                                    (true,
-                                                                    false,
-                                                                    true,
-                                                                    false,
-                                                                    false,
-                                                                    true,
-                                                                    true,
-                                                                    false)),
-                                                                    (String
-                                                                    ((Ascii
-                                                                    (false,
-                                                                    false,
-                                                                    true,
-                                                                    false,
-                                                                    true,
-                                                                    true,
-                                                                    true,
-                                                                    false)),
-                                                                    (String
-                                                                    ((Ascii
-                                                                    (false,
-                                                                    false,
-                                                                    true,
-                                                                    false,
-                                                                    true,
-                                                                    true,
-                                                                    true,
-                                                                    false)),
-                                                                    (String
-                                                                    ((Ascii
-                                                                    (false,
-                                                                    false,
-                                                                    true,
-                                                                    true,
-                                                                    false,
-                                                                    true,
-                                                                    true,
-                                                                    false)),
-                                                                    (String
-                                                                    ((Ascii
-                                                                    (true,
-                                                                    false,
-                                                                    true,
-                                                                    false,
-                                                                    false,
-                                                                    true,
-                                                                    true,
-                                                                    false)),
-                                                                    (String
-                                                                    ((Ascii
-                                                                    (true,
-                                                                    false,
-                                                                    true,
-                                                                    true,
-                                                                    false,
-                                                                    true,
-                                                                    true,
-                                                                    false)),
-                                                                    (String
-                                                                    ((Ascii
-                                                                    (true,
-                                                                    false,
-                                                                    true,
-                                                                    false,
-                                                                    false,
-                                                                    true,
-                                                                    true,
-                                                                    false)),
-                                                                    (String
-                                                                    ((Ascii
-                                                                    (false,
-                                                                    true,
-                                                                    true,
-                                                                    true,
-                                                                    false,
-                                                                    true,
-                                                                    true,
-                                                                    false)),
-                                                                    (String
-                                                                    ((Ascii
-                                                                    (false,
-                                                                    false,
-                                                                    true,
-                                                                    false,
-                                                                    true,
-                                                                    true,
-                                                                    true,
-                                                                    false)),
-                                                                    (String
-                                                                    ((Ascii
-                                                                    (false,
-                                                                    false,
-                                                                    true,
-                                                                    false,
-                                                                    false,
-                                                                    false,
-                                                                    true,
-                                                                    false)),
-                                                                    (String
-                                                                    ((Ascii
-                                                                    (true,
-                                                                    false,
-                                                                    false,
-                                                                    false,
-                                                                    false,
-                                                                    true,
-                                                                    true,
-                                                                    false)),
-                                                                    (String
-                                                                    ((Ascii
-                                                                    (false,
-                                                                    false,
-                                                                    true,
-                                                                    false,
-                                                                    true,
-                                                                    true,
-                                                                    true,
-                                                                    false)),
-                                                                    (String
-                                                                    ((Ascii
-                                                                    (true,
-                                                                    false,
-                                                                    true,
-                                                                    false,
-                                                                    false,
-                                                                    true,
-                                                                    true,
-                                                                    false)),
-                                                                    EmptyString))))))))))))))))))))))))))))))))))))))))))))))))))))))))))))
-                                                                    []) :: (
-    (mkcut (S (S (S (S (S (S (S (S (S (S (S (S (S (S (S (S (S (S (S (S (S (S
-      (S (S (S (S (S (S (S (S (S (S (S (S (S (S (S (S (S (S (S (S (S (S (S (S
-      (S (S (S (S (S (S (S (S (S (S (S (S (S (S (S (S (S (S (S (S (S (S (S (S
-      (S (S (S (S (S (S
-      O))))))))))))))))))))))))))))))))))))))))))))))))))))))))))))))))))))))))))))
-      (S (S (S (S (S (S (S (S (S (S (S (S (S (S (S (S (S (S (S (S (S (S (S (S
-      (S (S (S (S (S (S (S (S (S (S (S (S (S (S (S (S (S (S (S (S (S (S (S (S
-      (S (S (S (S (S (S (S (S (S (S (S (S (S (S (S (S (S (S (S (S (S (S (S (S
-      (S (S (S (S (S (S
-      O))))))))))))))))))))))))))))))))))))))))))))))))))))))))))))))))))))))))))))))
-      (String ((Ascii (false, false, true, false, false, false, true,
-      false)), (String ((Ascii (true, false, false, true, false, true, true,
-      false)), (String ((Ascii (true, true, false, false, true, true, true,
-      false)), (String ((Ascii (false, false, false, true, false, true, true,
-      false)), (String ((Ascii (true, true, true, true, false, true, true,
-      false)), (String ((Ascii (false, true, true, true, false, true, true,
-      false)), (String ((Ascii (true, true, true, true, false, true, true,
-      false)), (String ((Ascii (false, true, false, false, true, true, true,
-      false)), (String ((Ascii (true, false, true, false, false, true, true,
-      false)), (String ((Ascii (false, false, true, false, false, true, true,
-      false)), (String ((Ascii (false, true, false, false, true, false, true,
-      false)), (String ((Ascii (true, false, true, false, false, true, true,
-      false)), (String ((Ascii (false, false, true, false, true, true, true,
-      false)), (String ((Ascii (true, false, true, false, true, true, true,
-      false)), (String ((Ascii (false, true, false, false, true, true, true,
-      false)), (String ((Ascii (false, true, true, true, false, true, true,
-      false)), (String ((Ascii (false, true, false, false, true, false, true,
-      false)), (String ((Ascii (true, false, true, false, false, true, true,
-      false)), (String ((Ascii (true, false, false, false, false, true, true,
-      false)), (String ((Ascii (true, true, false, false, true, true, true,
-      false)), (String ((Ascii (true, true, true, true, false, true, true,
-      false)), (String ((Ascii (false, true, true, true, false, true, true,
-      false)), (String ((Ascii (true, true, false, false, false, false, true,
-      false)), (String ((Ascii (true, true, true, true, false, true, true,
-      false)), (String ((Ascii (false, false, true, false, false, true, true,
-      false)), (String ((Ascii (true, false, true, false, false, true, true,
-      false)),
-      EmptyString)))))))))))))))))))))))))))))))))))))))))))))))))))) []) :: (
-    (mkcut (S (S (S (S (S (S (S (S (S (S (S (S (S (S (S (S (S (S (S (S (S (S
-      (S (S (S (S (S (S (S (S (S (S (S (S (S (S (S (S (S (S (S (S (S (S (S (S
-      (S (S (S (S (S (S (S (S (S (S (S (S (S (S (S (S (S (S (S (S (S (S (S (S
-      (S (S (S (S (S (S (S (S
-      O))))))))))))))))))))))))))))))))))))))))))))))))))))))))))))))))))))))))))))))
-      (S (S (S (S (S (S (S (S (S (S (S (S (S (S (S (S (S (S (S (S (S (S (S (S
-      (S (S (S (S (S (S (S (S (S (S (S (S (S (S (S (S (S (S (S (S (S (S (S (S
-      (S (S (S (S (S (S (S (S (S (S (S (S (S (S (S (S (S (S (S (S (S (S (S (S
-      (S (S (S (S (S (S (S
-      O)))))))))))))))))))))))))))))))))))))))))))))))))))))))))))))))))))))))))))))))
-      EmptyString []) :: ((mkcut (S (S (S (S (S (S (S (S (S (S (S (S (S (S (S
-                            (S (S (S (S (S (S (S (S (S (S (S (S (S (S (S (S
-                            (S (S (S (S (S (S (S (S (S (S (S (S (S (S (S (S
-                            (S (S (S (S (S (S (S (S (S (S (S (S (S (S (S (S
-                            (S (S (S (S (S (S (S (S (S (S (S (S (S (S (S (S
-                            O)))))))))))))))))))))))))))))))))))))))))))))))))))))))))))))))))))))))))))))))
-                            (S (S (S (S (S (S (S (S (S (S (S (S (S (S (S (S
-                            (S (S (S (S (S (S (S (S (S (S (S (S (S (S (S (S
-                            (S (S (S (S (S (S (S (S (S (S (S (S (S (S (S (S
-                            (S (S (S (S (S (S (S (S (S (S (S (S (S (S (S (S
-                            (S (S (S (S (S (S (S (S (S (S (S (S (S (S (S (S
-                            (S (S (S (S (S (S (S (S (S (S (S (S (S (S
-                            O))))))))))))))))))))))))))))))))))))))))))))))))))))))))))))))))))))))))))))))))))))))))))))))
-                            (String ((Ascii (false, false, true, false, true,
-                            false, true, false)), (String ((Ascii (false,
-                            true, false, false, true, true, true, false)),
-                            (String ((Ascii (true, false, false, false,
-                            false, true, true, false)), (String ((Ascii
-                            (true, true, false, false, false, true, true,
-                            false)), (String ((Ascii (true, false, true,
-                            false, false, true, true, false)), (String
-                            ((Ascii (false, true, true, true, false, false,
-                            true, false)), (String ((Ascii (true, false,
-                            true, false, true, true, true, false)), (String
-                            ((Ascii (true, false, true, true, false, true,
-                            true, false)), (String ((Ascii (false, true,
-                            false, false, false, true, true, false)), (String
-                            ((Ascii (true, false, true, false, false, true,
-                            true, false)), (String ((Ascii (false, true,
-                            false, false, true, true, true, false)),
-                            EmptyString)))))))))))))))))))))) []) :: []))))))))))))))) }
-
-(** val l_Addenda99Dishonored : layout **)
-
-let l_Addenda99Dishonored =
-  { l_name = (String ((Ascii (true, false, false, false, false, false, true,
-    false)), (String ((Ascii (false, false, true, false, false, true, true,
-    false)), (String ((Ascii (false, false, true, false, false, true, true,
-    false)), (String ((Ascii (true, false, true, false, false, true, true,
-    false)), (String ((Ascii (false, true, true, true, false, true, true,
-    false)), (String ((Ascii (false, false, true, false, false, true, true,
-    false)), (String ((Ascii (true, false, false, false, false, true, true,
-    false)), (String ((Ascii (true, false, false, true, true, true, false,
-    false)), (String ((Ascii (true, false, false, true, true, true, false,
-    false)), (String ((Ascii (false, false, true, false, false, false, true,
-    false)), (String ((Ascii (true, false, false, true, false, true, true,
-    false)), (String ((Ascii (true, true, false, false, true, true, true,
-    false)), (String ((Ascii (false, false, false, true, false, true, true,
-    false)), (String ((Ascii (true, true, true, true, false, true, true,
-    false)), (String ((Ascii (false, true, true, true, false, true, true,
-    false)), (String ((Ascii (true, true, true, true, false, true, true,
-    false)), (String ((Ascii (false, true, false, false, true, true, true,
-    false)), (String ((Ascii (true, false, true, false, false, true, true,
-    false)), (String ((Ascii (false, false, true, false, false, true, true,
-    false)), EmptyString)))))))))))))))))))))))))))))))))))))); l_ix = IRune;
-    l_segs = ((SLit ((Npos (XI (XI (XI (XO (XI XH)))))) :: [])) :: ((SRaw
-    (String ((Ascii (false, false, true, false, true, false, true, false)),
-    (String ((Ascii (true, false, false, true, true, true, true, false)),
-    (String ((Ascii (false, false, false, false, true, true, true, false)),
-    (String ((Ascii (true, false, true, false, false, true, true, false)),
-    (String ((Ascii (true, true, false, false, false, false, true, false)),
-    (String ((Ascii (true, true, true, true, false, true, true, false)),
-    (String ((Ascii (false, false, true, false, false, true, true, false)),
-    (String ((Ascii (true, false, true, false, false, true, true, false)),
-    EmptyString))))))))))))))))) :: ((SStr ((String ((Ascii (false, false,
-    true, false, false, false, true, false)), (String ((Ascii (true, false,
-    false, true, false, true, true, false)), (String ((Ascii (true, true,
-    false, false, true, true, true, false)), (String ((Ascii (false, false,
-    false, true, false, true, true, false)), (String ((Ascii (true, true,
-    true, true, false, true, true, false)), (String ((Ascii (false, true,
-    true, true, false, true, true, false)), (String ((Ascii (true, true,
-    true, true, false, true, true, false)), (String ((Ascii (false, true,
-    false, false, true, true, true, false)), (String ((Ascii (true, false,
-    true, false, false, true, true, false)), (String ((Ascii (false, false,
-    true, false, false, true, true, false)), (String ((Ascii (false, true,
-    false, false, true, false, true, false)), (String ((Ascii (true, false,
-    true, false, false, true, true, false)), (String ((Ascii (false, false,
-    true, false, true, true, true, false)), (String ((Ascii (true, false,
-    true, false, true, true, true, false)), (String ((Ascii (false, true,
-    false, false, true, true, true, false)), (String ((Ascii (false, true,
-    true, true, false, true, true, false)), (String ((Ascii (false, true,
-    false, false, true, false, true, false)), (String ((Ascii (true, false,
-    true, false, false, true, true, false)), (String ((Ascii (true, false,
-    false, false, false, true, true, false)), (String ((Ascii (true, true,
-    false, false, true, true, true, false)), (String ((Ascii (true, true,
-    true, true, false, true, true, false)), (String ((Ascii (false, true,
-    true, true, false, true, true, false)), (String ((Ascii (true, true,
-    false, false, false, false, true, false)), (String ((Ascii (true, true,
-    true, true, false, true, true, false)), (String ((Ascii (false, false,
-    true, false, false, true, true, false)), (String ((Ascii (true, false,
-    true, false, false, true, true, false)),
-    EmptyString)))))))))))))))))))))))))))))))))))))))))))))))))))), (S (S (S
-    O))))) :: ((SStr ((String ((Ascii (true, true, true, true, false, false,
-    true, false)), (String ((Ascii (false, true, false, false, true, true,
-    true, false)), (String ((Ascii (true, false, false, true, false, true,
-    true, false)), (String ((Ascii (true, true, true, false, false, true,
-    true, false)), (String ((Ascii (true, false, false, true, false, true,
-    true, false)), (String ((Ascii (false, true, true, true, false, true,
-    true, false)), (String ((Ascii (true, false, false, false, false, true,
-    true, false)), (String ((Ascii (false, false, true, true, false, true,
-    true, false)), (String ((Ascii (true, false, true, false, false, false,
-    true, false)), (String ((Ascii (false, true, true, true, false, true,
-    true, false)), (String ((Ascii (false, false, true, false, true, true,
-    true, false)), (String ((Ascii (false, true, false, false, true, true,
-    true, false)), (String ((Ascii (true, false, false, true, true, true,
-    true, false)), (String ((Ascii (false, false, true, false, true, false,
-    true, false)), (String ((Ascii (false, true, false, false, true, true,
-    true, false)), (String ((Ascii (true, false, false, false, false, true,
-    true, false)), (String ((Ascii (true, true, false, false, false, true,
-    true, false)), (String ((Ascii (true, false, true, false, false, true,
-    true, false)), (String ((Ascii (false, true, true, true, false, false,
-    true, false)), (String ((Ascii (true, false, true, false, true, true,
-    true, false)), (String ((Ascii (true, false, true, true, false, true,
-    true, false)), (String ((Ascii (false, true, false, false, false, true,
-    true, false)), (String ((Ascii (true, false, true, false, false, true,
-    true, false)), (String ((Ascii (false, true, false, false, true, true,
-    true, false)),
-    EmptyString)))))))))))))))))))))))))))))))))))))))))))))))), (S (S (S (S
-    (S (S (S (S (S (S (S (S (S (S (S O))))))))))))))))) :: ((SLit ((Npos (XO
-    (XO (XO (XO (XO XH)))))) :: ((Npos (XO (XO (XO (XO (XO XH)))))) :: ((Npos
-    (XO (XO (XO (XO (XO XH)))))) :: ((Npos (XO (XO (XO (XO (XO
-    XH)))))) :: ((Npos (XO (XO (XO (XO (XO XH)))))) :: ((Npos (XO (XO (XO (XO
-    (XO XH)))))) :: []))))))) :: ((SStr ((String ((Ascii (true, true, true,
-    true, false, false, true, false)), (String ((Ascii (false, true, false,
-    false, true, true, true, false)), (String ((Ascii (true, false, false,
-    true, false, true, true, false)), (String ((Ascii (true, true, true,
-    false, false, true, true, false)), (String ((Ascii (true, false, false,
-    true, false, true, true, false)), (String ((Ascii (false, true, true,
-    true, false, true, true, false)), (String ((Ascii (true, false, false,
-    false, false, true, true, false)), (String ((Ascii (false, false, true,
-    true, false, true, true, false)), (String ((Ascii (false, true, false,
-    false, true, false, true, false)), (String ((Ascii (true, false, true,
-    false, false, true, true, false)), (String ((Ascii (true, true, false,
-    false, false, true, true, false)), (String ((Ascii (true, false, true,
-    false, false, true, true, false)), (String ((Ascii (true, false, false,
-    true, false, true, true, false)), (String ((Ascii (false, true, true,
-    false, true, true, true, false)), (String ((Ascii (true, false, false,
-    true, false, true, true, false)), (String ((Ascii (false, true, true,
-    true, false, true, true, false)), (String ((Ascii (true, true, true,
-    false, false, true, true, false)), (String ((Ascii (false, false, true,
-    false, false, false, true, false)), (String ((Ascii (false, true, true,
-    false, false, false, true, false)), (String ((Ascii (true, false, false,
-    true, false, false, true, false)), (String ((Ascii (true, false, false,
-    true, false, false, true, false)), (String ((Ascii (false, false, true,
-    false, false, true, true, false)), (String ((Ascii (true, false, true,
-    false, false, true, true, false)), (String ((Ascii (false, true, true,
-    true, false, true, true, false)), (String ((Ascii (false, false, true,
-    false, true, true, true, false)), (String ((Ascii (true, false, false,
-    true, false, true, true, false)), (String ((Ascii (false, true, true,
-    false, false, true, true, false)), (String ((Ascii (true, false, false,
-    true, false, true, true, false)), (String ((Ascii (true, true, false,
-    false, false, true, true, false)), (String ((Ascii (true, false, false,
-    false, false, true, true, false)), (String ((Ascii (false, false, true,
-    false, true, true, true, false)), (String ((Ascii (true, false, false,
-    true, false, true, true, false)), (String ((Ascii (true, true, true,
-    true, false, true, true, false)), (String ((Ascii (false, true, true,
-    true, false, true, true, false)),
-    EmptyString)))))))))))))))))))))))))))))))))))))))))))))))))))))))))))))))))))),
-    (S (S (S (S (S (S (S (S O)))))))))) :: ((SLit ((Npos (XO (XO (XO (XO (XO
-    XH)))))) :: ((Npos (XO (XO (XO (XO (XO XH)))))) :: ((Npos (XO (XO (XO (XO
-    (XO XH)))))) :: [])))) :: ((SStr ((String ((Ascii (false, true, false,
-    false, true, false, true, false)), (String ((Ascii (true, false, true,
-    false, false, true, true, false)), (String ((Ascii (false, false, true,
-    false, true, true, true, false)), (String ((Ascii (true, false, true,
-    false, true, true, true, false)), (String ((Ascii (false, true, false,
-    false, true, true, true, false)), (String ((Ascii (false, true, true,
-    true, false, true, true, false)), (String ((Ascii (false, false, true,
-    false, true, false, true, false)), (String ((Ascii (false, true, false,
-    false, true, true, true, false)), (String ((Ascii (true, false, false,
-    false, false, true, true, false)), (String ((Ascii (true, true, false,
-    false, false, true, true, false)), (String ((Ascii (true, false, true,
-    false, false, true, true, false)), (String ((Ascii (false, true, true,
-    true, false, false, true, false)), (String ((Ascii (true, false, true,
-    false, true, true, true, false)), (String ((Ascii (true, false, true,
-    true, false, true, true, false)), (String ((Ascii (false, true, false,
-    false, false, true, true, false)), (String ((Ascii (true, false, true,
-    false, false, true, true, false)), (String ((Ascii (false, true, false,
-    false, true, true, true, false)),
-    EmptyString)))))))))))))))))))))))))))))))))), (S (S (S (S (S (S (S (S (S
-    (S (S (S (S (S (S O))))))))))))))))) :: ((SStr ((String ((Ascii (false,
-    true, false, false, true, false, true, false)), (String ((Ascii (true,
-    false, true, false, false, true, true, false)), (String ((Ascii (false,
-    false, true, false, true, true, true, false)), (String ((Ascii (true,
-    false, true, false, true, true, true, false)), (String ((Ascii (false,
-    true, false, false, true, true, true, false)), (String ((Ascii (false,
-    true, true, true, false, true, true, false)), (String ((Ascii (true,
-    true, false, false, true, false, true, false)), (String ((Ascii (true,
-    false, true, false, false, true, true, false)), (String ((Ascii (false,
-    false, true, false, true, true, true, false)), (String ((Ascii (false,
-    false, true, false, true, true, true, false)), (String ((Ascii (false,
-    false, true, true, false, true, true, false)), (String ((Ascii (true,
-    false, true, false, false, true, true, false)), (String ((Ascii (true,
-    false, true, true, false, true, true, false)), (String ((Ascii (true,
-    false, true, false, false, true, true, false)), (String ((Ascii (false,
-    true, true, true, false, true, true, false)), (String ((Ascii (false,
-    false, true, false, true, true, true, false)), (String ((Ascii (false,
-    false, true, false, false, false, true, false)), (String ((Ascii (true,
-    false, false, false, false, true, true, false)), (String ((Ascii (false,
-    false, true, false, true, true, true, false)), (String ((Ascii (true,
-    false, true, false, false, true, true, false)),
-    EmptyString)))))))))))))))))))))))))))))))))))))))), (S (S (S
-    O))))) :: ((SStr ((String ((Ascii (false, true, false, false, true,
-    false, true, false)), (String ((Ascii (true, false, true, false, false,
-    true, true, false)), (String ((Ascii (false, false, true, false, true,
-    true, true, false)), (String ((Ascii (true, false, true, false, true,
-    true, true, false)), (String ((Ascii (false, true, false, false, true,
-    true, true, false)), (String ((Ascii (false, true, true, true, false,
-    true, true, false)), (String ((Ascii (false, true, false, false, true,
-    false, true, false)), (String ((Ascii (true, false, true, false, false,
-    true, true, false)), (String ((Ascii (true, false, false, false, false,
-    true, true, false)), (String ((Ascii (true, true, false, false, true,
-    true, true, false)), (String ((Ascii (true, true, true, true, false,
-    true, true, false)), (String ((Ascii (false, true, true, true, false,
-    true, true, false)), (String ((Ascii (true, true, false, false, false,
-    false, true, false)), (String ((Ascii (true, true, true, true, false,
-    true, true, false)), (String ((Ascii (false, false, true, false, false,
-    true, true, false)), (String ((Ascii (true, false, true, false, false,
-    true, true, false)), EmptyString)))))))))))))))))))))))))))))))), (S (S
-    O)))) :: ((SAlpha ((String ((Ascii (true, false, false, false, false,
-    false, true, false)), (String ((Ascii (false, false, true, false, false,
-    true, true, false)), (String ((Ascii (false, false, true, false, false,
-    true, true, false)), (String ((Ascii (true, false, true, false, false,
-    true, true, false)), (String ((Ascii (false, true, true, true, false,
-    true, true, false)), (String ((Ascii (false, false, true, false, false,
-    true, true, false)), (String ((Ascii (true, false, false, false, false,
-    true, true, false)), (String ((Ascii (true, false, false, true, false,
-    false, true, false)), (String ((Ascii (false, true, true, true, false,
-    true, true, false)), (String ((Ascii (false, true, true, false, false,
-    true, true, false)), (String ((Ascii (true, true, true, true, false,
-    true, true, false)), (String ((Ascii (false, true, false, false, true,
-    true, true, false)), (String ((Ascii (true, false, true, true, false,
-    true, true, false)), (String ((Ascii (true, false, false, false, false,
-    true, true, false)), (String ((Ascii (false, false, true, false, true,
-    true, true, false)), (String ((Ascii (true, false, false, true, false,
-    true, true, false)), (String ((Ascii (true, true, true, true, false,
-    true, true, false)), (String ((Ascii (false, true, true, true, false,
-    true, true, false)), EmptyString)))))))))))))))))))))))))))))))))))), (S
-    (S (S (S (S (S (S (S (S (S (S (S (S (S (S (S (S (S (S (S (S
-    O))))))))))))))))))))))) :: ((SStr ((String ((Ascii (false, false, true,
-    false, true, false, true, false)), (String ((Ascii (false, true, false,
-    false, true, true, true, false)), (String ((Ascii (true, false, false,
-    false, false, true, true, false)), (String ((Ascii (true, true, false,
-    false, false, true, true, false)), (String ((Ascii (true, false, true,
-    false, false, true, true, false)), (String ((Ascii (false, true, true,
-    true, false, false, true, false)), (String ((Ascii (true, false, true,
-    false, true, true, true, false)), (String ((Ascii (true, false, true,
-    true, false, true, true, false)), (String ((Ascii (false, true, false,
-    false, false, true, true, false)), (String ((Ascii (true, false, true,
-    false, false, true, true, false)), (String ((Ascii (false, true, false,
-    false, true, true, true, false)), EmptyString)))))))))))))))))))))), (S
-    (S (S (S (S (S (S (S (S (S (S (S (S (S (S
-    O))))))))))))))))) :: [])))))))))))); l_cuts =
-    ((mkcut O (S O) EmptyString []) :: ((mkcut (S O) (S (S (S O))) (String
-                                          ((Ascii (false, false, true, false,
-                                          true, false, true, false)), (String
-                                          ((Ascii (true, false, false, true,
-                                          true, true, true, false)), (String
-                                          ((Ascii (false, false, false,
-                                          false, true, true, true, false)),
-                                          (String ((Ascii (true, false, true,
-                                          false, false, true, true, false)),
-                                          (String ((Ascii (true, true, false,
-                                          false, false, false, true, false)),
-                                          (String ((Ascii (true, true, true,
-                                          true, false, true, true, false)),
-                                          (String ((Ascii (false, false,
-                                          true, false, false, true, true,
-                                          false)), (String ((Ascii (true,
-                                          false, true, false, false, true,
-                                          true, false)),
-                                          EmptyString)))))))))))))))) []) :: (
-    (mkcut (S (S (S O))) (S (S (S (S (S (S O)))))) (String ((Ascii (false,
-      false, true, false, false, false, true, false)), (String ((Ascii (true,
-      false, false, true, false, true, true, false)), (String ((Ascii (true,
-      true, false, false, true, true, true, false)), (String ((Ascii (false,
-      false, false, true, false, true, true, false)), (String ((Ascii (true,
-      true, true, true, false, true, true, false)), (String ((Ascii (false,
-      true, true, true, false, true, true, false)), (String ((Ascii (true,
-      true, true, true, false, true, true, false)), (String ((Ascii (false,
-      true, false, false, true, true, true, false)), (String ((Ascii (true,
-      false, true, false, false, true, true, false)), (String ((Ascii (false,
-      false, true, false, false, true, true, false)), (String ((Ascii (false,
-      true, false, false, true, false, true, false)), (String ((Ascii (true,
-      false, true, false, false, true, true, false)), (String ((Ascii (false,
-      false, true, false, true, true, true, false)), (String ((Ascii (true,
-      false, true, false, true, true, true, false)), (String ((Ascii (false,
-      true, false, false, true, true, true, false)), (String ((Ascii (false,
-      true, true, true, false, true, true, false)), (String ((Ascii (false,
-      true, false, false, true, false, true, false)), (String ((Ascii (true,
-      false, true, false, false, true, true, false)), (String ((Ascii (true,
-      false, false, false, false, true, true, false)), (String ((Ascii (true,
-      true, false, false, true, true, true, false)), (String ((Ascii (true,
-      true, true, true, false, true, true, false)), (String ((Ascii (false,
-      true, true, true, false, true, true, false)), (String ((Ascii (true,
-      true, false, false, false, false, true, false)), (String ((Ascii (true,
-      true, true, true, false, true, true, false)), (String ((Ascii (false,
-      false, true, false, false, true, true, false)), (String ((Ascii (true,
-      false, true, false, false, true, true, false)),
-      EmptyString)))))))))))))))))))))))))))))))))))))))))))))))))))) []) :: (
-    (mkcut (S (S (S (S (S (S O)))))) (S (S (S (S (S (S (S (S (S (S (S (S (S
-      (S (S (S (S (S (S (S (S O))))))))))))))))))))) (String ((Ascii (true,
-      true, true, true, false, false, true, false)), (String ((Ascii (false,
-      true, false, false, true, true, true, false)), (String ((Ascii (true,
-      false, false, true, false, true, true, false)), (String ((Ascii (true,
-      true, true, false, false, true, true, false)), (String ((Ascii (true,
-      false, false, true, false, true, true, false)), (String ((Ascii (false,
-      true, true, true, false, true, true, false)), (String ((Ascii (true,
-      false, false, false, false, true, true, false)), (String ((Ascii
-      (false, false, true, true, false, true, true, false)), (String ((Ascii
-      (true, false, true, false, false, false, true, false)), (String ((Ascii
-      (false, true, true, true, false, true, true, false)), (String ((Ascii
-      (false, false, true, false, true, true, true, false)), (String ((Ascii
-      (false, true, false, false, true, true, true, false)), (String ((Ascii
-      (true, false, false, true, true, true, true, false)), (String ((Ascii
-      (false, false, true, false, true, false, true, false)), (String ((Ascii
-      (false, true, false, false, true, true, true, false)), (String ((Ascii
-      (true, false, false, false, false, true, true, false)), (String ((Ascii
-      (true, true, false, false, false, true, true, false)), (String ((Ascii
-      (true, false, true, false, false, true, true, false)), (String ((Ascii
-      (false, true, true, true, false, false, true, false)), (String ((Ascii
-      (true, false, true, false, true, true, true, false)), (String ((Ascii
-      (true, false, true, true, false, true, true, false)), (String ((Ascii
-      (false, true, false, false, false, true, true, false)), (String ((Ascii
-      (true, false, true, false, false, true, true, false)), (String ((Ascii
-      (false, true, false, false, true, true, true, false)),
-      EmptyString)))))))))))))))))))))))))))))))))))))))))))))))) []) :: (
-    (mkcut (S (S (S (S (S (S (S (S (S (S (S (S (S (S (S (S (S (S (S (S (S
-      O))))))))))))))))))))) (S (S (S (S (S (S (S (S (S (S (S (S (S (S (S (S
-      (S (S (S (S (S (S (S (S (S (S (S O)))))))))))))))))))))))))))
-      EmptyString []) :: ((mkcut (S (S (S (S (S (S (S (S (S (S (S (S (S (S (S
-                            (S (S (S (S (S (S (S (S (S (S (S (S
-                            O))))))))))))))))))))))))))) (S (S (S (S (S (S (S
-                            (S (S (S (S (S (S (S (S (S (S (S (S (S (S (S (S
-                            (S (S (S (S (S (S (S (S (S (S (S (S
-                            O))))))))))))))))))))))))))))))))))) (String
-                            ((Ascii (true, true, true, true, false, false,
-                            true, false)), (String ((Ascii (false, true,
-                            false, false, true, true, true, false)), (String
-                            ((Ascii (true, false, false, true, false, true,
-                            true, false)), (String ((Ascii (true, true, true,
-                            false, false, true, true, false)), (String
-                            ((Ascii (true, false, false, true, false, true,
-                            true, false)), (String ((Ascii (false, true,
-                            true, true, false, true, true, false)), (String
-                            ((Ascii (true, false, false, false, false, true,
-                            true, false)), (String ((Ascii (false, false,
-                            true, true, false, true, true, false)), (String
-                            ((Ascii (false, true, false, false, true, false,
-                            true, false)), (String ((Ascii (true, false,
-                            true, false, false, true, true, false)), (String
-                            ((Ascii (true, true, false, false, false, true,
-                            true, false)), (String ((Ascii (true, false,
-                            true, false, false, true, true, false)), (String
-                            ((Ascii (true, false, false, true, false, true,
-                            true, false)), (String ((Ascii (false, true,
-                            true, false, true, true, true, false)), (String
-                            ((Ascii (true, false, false, true, false, true,
-                            true, false)), (String ((Ascii (false, true,
-                            true, true, false, true, true, false)), (String
-                            ((Ascii (true, true, true, false, false, true,
-                            true, false)), (String ((Ascii (false, false,
-                            true, false, false, false, true, false)), (String
-                            ((Ascii (false, true, true, false, false, false,
-                            true, false)), (String ((Ascii (true, false,
-                            false, true, false, false, true, false)), (String
-                            ((Ascii (true, false, false, true, false, false,
-                            true, false)), (String ((Ascii (false, false,
-                            true, false, false, true, true, false)), (String
-                            ((Ascii (true, false, true, false, false, true,
-                            true, false)), (String ((Ascii (false, true,
-                            true, true, false, true, true, false)), (String
-                            ((Ascii (false, false, true, false, true, true,
-                            true, false)), (String ((Ascii (true, false,
-                            false, true, false, true, true, false)), (String
-                            ((Ascii (false, true, true, false, false, true,
-                            true, false)), (String ((Ascii (true, false,
-                            false, true, false, true, true, false)), (String
-                            ((Ascii (true, true, false, false, false, true,
-                            true, false)), (String ((Ascii (true, false,
-                            false, false, false, true, true, false)), (String
-                            ((Ascii (false, false, true, false, true, true,
-                            true, false)), (String ((Ascii (true, false,
-                            false, true, false, true, true, false)), (String
-                            ((Ascii (true, true, true, true, false, true,
-                            true, false)), (String ((Ascii (false, true,
-                            true, true, false, true, true, false)),
-                            EmptyString))))))))))))))))))))))))))))))))))))))))))))))))))))))))))))))))))))
-                            []) :: ((mkcut (S (S (S (S (S (S (S (S (S (S (S
-                                      (S (S (S (S (S (S (S (S (S (S (S (S (S
-                                      (S (S (S (S (S (S (S (S (S (S (S
-                                      O))))))))))))))))))))))))))))))))))) (S
-                                      (S (S (S (S (S (S (S (S (S (S (S (S (S
-                                      (S (S (S (S (S (S (S (S (S (S (S (S (S
-                                      (S (S (S (S (S (S (S (S (S (S (S
-                                      O))))))))))))))))))))))))))))))))))))))
-                                      EmptyString []) :: ((mkcut (S (S (S (S
-                                                            (S (S (S (S (S (S
-                                                            (S (S (S (S (S (S
-                                                            (S (S (S (S (S (S
-                                                            (S (S (S (S (S (S
-                                                            (S (S (S (S (S (S
-                                                            (S (S (S (S
-                                                            O))))))))))))))))))))))))))))))))))))))
-                                                            (S (S (S (S (S (S
-                                                            (S (S (S (S (S (S
-                                                            (S (S (S (S (S (S
-                                                            (S (S (S (S (S (S
-                                                            (S (S (S (S (S (S
-                                                            (S (S (S (S (S (S
-                                                            (S (S (S (S (S (S
-                                                            (S (S (S (S (S (S
-                                                            (S (S (S (S (S
-                                                            O)))))))))))))))))))))))))))))))))))))))))))))))))))))
-                                                            (String ((Ascii
-                                                            (false, true,
-                                                            false, false,
-                                                            true, false,
-                                                            true, false)),
-                                                            (String ((Ascii
-                                                            (true, false,
-                                                            true, false,
-                                                            false, true,
-                                                            true, false)),
-                                                            (String ((Ascii
-                                                            (false, false,
-                                                            true, false,
-                                                            true, true, true,
-                                                            false)), (String
-                                                            ((Ascii (true,
-                                                            false, true,
-                                                            false, true,
-                                                            true, true,
-                                                            false)), (String
-                                                            ((Ascii (false,
-                                                            true, false,
-                                                            false, true,
-                                                            true, true,
-                                                            false)), (String
-                                                            ((Ascii (false,
-                                                            true, true, true,
-                                                            false, true,
-                                                            true, false)),
-                                                            (String ((Ascii
-                                                            (false, false,
-                                                            true, false,
-                                                            true, false,
-                                                            true, false)),
-                                                            (String ((Ascii
-                                                            (false, true,
-                                                            false, false,
-                                                            true, true, true,
-                                                            false)), (String
-                                                            ((Ascii (true,
-                                                            false, false,
-                                                            false, false,
-                                                            true, true,
-                                                            false)), (String
-                                                            ((Ascii (true,
-                                                            true, false,
-                                                            false, false,
-                                                            true, true,
-                                                            false)), (String
-                                                            ((Ascii (true,
-                                                            false, true,
-                                                            false, false,
-                                                            true, true,
-                                                            false)), (String
-                                                            ((Ascii (false,
-                                                            true, true, true,
-                                                            false, false,
-                                                            true, false)),
-                                                            (String ((Ascii
-                                                            (true, false,
-                                                            true, false,
-                                                            true, true, true,
-                                                            false)), (String
-                                                            ((Ascii (true,
-                                                            false, true,
-                                                            true, false,
-                                                            true, true,
-                                                            false)), (String
-                                                            ((Ascii (false,
-                                                            true, false,
-                                                            false, false,
-                                                            true, true,
-                                                            false)), (String
-                                                            ((Ascii (true,
-                                                            false, true,
-                                                            false, false,
-                                                            true, true,
-                                                            false)), (String
-                                                            ((Ascii (false,
-                                                            true, false,
-                                                            false, true,
-                                                            true, true,
-                                                            false)),
-                                                            EmptyString))))))))))))))))))))))))))))))))))
-                                                            []) :: ((mkcut (S
-                                                                    (S (S (S
-                                                                    (S (S (S
-                                                                    (S (S (S
-                                                                    (S (S (S
-                                                                    (S (S (S
-                                                                    (S (S (S
-                                                                    (S (S (S
-                                                                    (S (S (S
-                                                                    (S (S (S
-                                                                    (S (S (S
-                                                                    (S (S (S
-                                                                    (S (S (S
-                                                                    (S (S (S
-                                                                    (S (S (S
-                                                                    (S (S (S
-                                                                    (S (S (S
-                                                                    (S (S (S
-                                                                    (S
-                                                                    O)))))))))))))))))))))))))))))))))))))))))))))))))))))
-                                                                    (S (S (S
-                                                                    (S (S (S
-                                                                    (S (S (S
-                                                                    (S (S (S
-                                                                    (S (S (S
-                                                                    (S (S (S
-                                                                    (S (S (S
-                                                                    (S (S (S
-                                                                    (S (S (S
-                                                                    (S (S (S
-                                                                    (S (S (S
-                                                                    (S (S (S
-                                                                    (S (S (S
-                                                                    (S (S (S
-                                                                    (S (S (S
-                                                                    (S (S (S
-                                                                    (S (S (S
-                                                                    (S (S (S
-                                                                    (S (S
-                                                                    O))))))))))))))))))))))))))))))))))))))))))))))))))))))))
-                                                                    (String
-                                                                    ((Ascii
-                                                                    (false,
-                                                                    true,
-                                                                    false,
-                                                                    false,
-                                                                    true,
-                                                                    false,
-                                                                    true,
-                                                                    false)),
-                                                                    (String
-                                                                    ((Ascii
-                                                                    (true,
-                                                                    false,
-                                                                    true,
-                                                                    false,
-                                                                    false,
-                                                                    true,
-                                                                    true,
-                                                                    false)),
-                                                                    (String
-                                                                    ((Ascii
-                                                                    (false,
-                                                                    false,
-                                                                    true,
-                                                                    false,
-                                                                    true,
-                                                                    true,
-                                                                    true,
-                                                                    false)),
-                                                                    (String
-                                                                    ((Ascii
-                                                                    (true,
-                                                                    false,
-                                                                    true,
-                                                                    false,
-                                                                    true,
-                                                                    true,
-                                                                    true,
-                                                                    false)),
-                                                                    (String
-                                                                    ((Ascii
-                                                                    (false,
-                                                                    true,
-                                                                    false,
-                                                                    false,
-                                                                    true,
-                                                                    true,
-                                                                    true,
-                                                                    false)),
-                                                                    (String
-                                                                    ((Ascii
-                                                                    (false,
-                                                                    true,
-                                                                    true,
-                                                                    true,
-                                                                    false,
-                                                                    true,
-                                                                    true,
-                                                                    false)),
-                                                                    (String
-                                                                    ((Ascii
-                                                                    (true,
-                                                                    true,
-                                                                    false,
-                                                                    false,
-                                                                    true,
-                                                                    false,
-                                                                    true,
-                                                                    false)),
-                                                                    (String
-                                                                    ((Ascii
-                                                                    (true,
-                                                                    false,
-                                                                    true,
-                                                                    false,
-                                                                    false,
-                                                                    true,
-                                                                    true,
-                                                                    false)),
-                                                                    (String
-                                                                    ((Ascii
-                                                                    (false,
-                                                                    false,
-                                                                    true,
-                                                                    false,
-                                                                    true,
-                                                                    true,
-                                                                    true,
-                                                                    false)),
-                                                                    (String
-                                                                    ((Ascii
-                                                                    (false,
-                                                                    false,
-                                                                    true,
-                                                                    false,
-                                                                    true,
-                                                                    true,
-                                                                    true,
-                                                                    false)),
-                                                                    (String
-                                                                    ((Ascii
-                                                                    (false,
-                                                                    false,
-                                                                    true,
-                                                                    true,
-                                                                    false,
-                                                                    true,
-                                                                    true,
-                                                                    false)),
-                                                                    (String
-                                                                    ((Ascii
-                                                                    (true,
-                                                                    false,
-                                                                    true,
-                                                                    false,
-                                                                    false,
-                                                                    true,
-                                                                    true,
-                                                                    false)),
-                                                                    (String
-                                                                    ((Ascii
-                                                                    (true,
-                                                                    false,
-                                                                    true,
-                                                                    true,
-                                                                    false,
-                                                                    true,
-                                                                    true,
-                                                                    false)),
-                                                                    (String
-                                                                    ((Ascii
-                                                                    (true,
-                                                                    false,
-                                                                    true,
-                                                                    false,
-                                                                    false,
-                                                                    true,
-                                                                    true,
-                                                                    false)),
-                                                                    (String
-                                                                    ((Ascii
-                                                                    (false,
-                                                                    true,
-                                                                    true,
-                                                                    true,
-                                                                    false,
-                                                                    true,
-                                                                    true,
-                                                                    false)),
-                                                                    (String
-                                                                    ((Ascii
-                                                                    (false,
-                                                                    false,
-                                                                    true,
-                                                                    false,
-                                                                    true,
-                                                                    true,
-                                                                    true,
-                                                                    false)),
-                                                                    (String
-                                                                    ((Ascii
-                                                                    (false,
-                                                                    false,
-                                                                    true,
-                                                                    false,
-                                                                    false,
-                                                                    false,
-                                                                    true,
-                                                                    false)),
-                                                                    (String
-                                                                    ((Ascii
-                                                                    (true,
-                                                                    false,
-                                                                    false,
-                                                                    false,
-                                                                    false,
-                                                                    true,
-                                                                    true,
-                                                                    false)),
-                                                                    (String
-                                                                    ((Ascii
-                                                                    (false,
-                                                                    false,
-                                                                    true,
-                                                                    false,
-                                                                    true,
-                                                                    true,
-                                                                    true,
-                                                                    false)),
-                                                                    (String
-                                                                    ((Ascii
-                                                                    (true,
-                                                                    false,
-                                                                    true,
-                                                                    false,
-                                                                    false,
-                                                                    true,
-                                                                    true,
-                                                                    false)),
-                                                                    EmptyString))))))))))))))))))))))))))))))))))))))))
-                                                                    []) :: (
-    (mkcut (S (S (S (S (S (S (S (S (S (S (S (S (S (S (S (S (S (S (S (S (S (S
-      (S (S (S (S (S (S (S (S (S (S (S (S (S (S (S (S (S (S (S (S (S (S (S (S
-      (S (S (S (S (S (S (S (S (S (S
-      O)))))))))))))))))))))))))))))))))))))))))))))))))))))))) (S (S (S (S
-      (S (S (S (S (S (S (S (S (S (S (S (S (S (S (S (S (S (S (S (S (S (S (S (S
-      (S (S (S (S (S (S (S (S (S (S (S (S (S (S (S (S (S (S (S (S (S (S (S (S
-      (S (S (S (S (S (S
-      O)))))))))))))))))))))))))))))))))))))))))))))))))))))))))) (String
-      ((Ascii (false, true, false, false, true, false, true, false)), (String
-      ((Ascii (true, false, true, false, false, true, true, false)), (String
-      ((Ascii (false, false, true, false, true, true, true, false)), (String
-      ((Ascii (true, false, true, false, true, true, true, false)), (String
-      ((Ascii (false, true, false, false, true, true, true, false)), (String
-      ((Ascii (false, true, true, true, false, true, true, false)), (String
-      ((Ascii (false, true, false, false, true, false, true, false)), (String
-      ((Ascii (true, false, true, false, false, true, true, false)), (String
-      ((Ascii (true, false, false, false, false, true, true, false)), (String
-      ((Ascii (true, true, false, false, true, true, true, false)), (String
-      ((Ascii (true, true, true, true, false, true, true, false)), (String
-      ((Ascii (false, true, true, true, false, true, true, false)), (String
-      ((Ascii (true, true, false, false, false, false, true, false)), (String
-      ((Ascii (true, true, true, true, false, true, true, false)), (String
-      ((Ascii (false, false, true, false, false, true, true, false)), (String
-      ((Ascii (true, false, true, false, false, true, true, false)),
-      EmptyString)))))))))))))))))))))))))))))))) []) :: ((mkcut (S (S (S (S
-                                                            (S (S (S (S (S (S
-                                                            (S (S (S (S (S (S
-                                                            (S (S (S (S (S (S
-                                                            (S (S (S (S (S (S
-                                                            (S (S (S (S (S (S
-                                                            (S (S (S (S (S (S
-                                                            (S (S (S (S (S (S
-                                                            (S (S (S (S (S (S
-                                                            (S (S (S (S (S (S
-                                                            O))))))))))))))))))))))))))))))))))))))))))))))))))))))))))
-                                                            (S (S (S (S (S (S
-                                                            (S (S (S (S (S (S
-                                                            (S (S (S (S (S (S
-                                                            (S (S (S (S (S (S
-                                                            (S (S (S (S (S (S
-                                                            (S (S (S (S (S (S
-                                                            (S (S (S (S (S (S
-                                                            (S (S (S (S (S (S
-                                                            (S (S (S (S (S (S
-                                                            (S (S (S (S (S (S
-                                                            (S (S (S (S (S (S
-                                                            (S (S (S (S (S (S
-                                                            (S (S (S (S (S (S
-                                                            (S
-                                                            O)))))))))))))))))))))))))))))))))))))))))))))))))))))))))))))))))))))))))))))))
-                                                            (String ((Ascii
-                                                            (true, false,
-                                                            false, false,
-                                                            false, false,
-                                                            true, false)),
-                                                            (String ((Ascii
-                                                            (false, false,
-                                                            true, false,
-                                                            false, true,
-                                                            true, false)),
-                                                            (String ((Ascii
-                                                            (false, false,
-                                                            true, false,
-                                                            false, true,
-                                                            true, false)),
-                                                            (String ((Ascii
-                                                            (true, false,
-                                                            true, false,
-                                                            false, true,
-                                                            true, false)),
-                                                            (String ((Ascii
-                                                            (false, true,
-                                                            true, true,
-                                                            false, true,
-                                                            true, false)),
-                                                            (String ((Ascii
-                                                            (false, false,
-                                                            true, false,
-                                                            false, true,
-                                                            true, false)),
-                                                            (String ((Ascii
-                                                            (true, false,
-                                                            false, false,
-                                                            false, true,
-                                                            true, false)),
-                                                            (String ((Ascii
-                                                            (true, false,
-                                                            false, true,
-                                                            false, false,
-                                                            true, false)),
-                                                            (String ((Ascii
-                                                            (false, true,
-                                                            true, true,
-                                                            false, true,
-                                                            true, false)),
-                                                            (String ((Ascii
-                                                            (false, true,
-                                                            true, false,
-                                                            false, true,
-                                                            true, false)),
-                                                            (String ((Ascii
-                                                            (true, true,
-                                                            true, true,
-                                                            false, true,
-                                                            true, false)),
-                                                            (String ((Ascii
-                                                            (false, true,
-                                                            false, false,
-                                                            true, true, true,
-                                                            false)), (String
-                                                            ((Ascii (true,
-                                                            false, true,
-                                                            true, false,
-                                                            true, true,
-                                                            false)), (String
-                                                            ((Ascii (true,
-                                                            false, false,
-                                                            false, false,
-                                                            true, true,
-                                                            false)), (String
-                                                            ((Ascii (false,
-                                                            false, true,
-                                                            false, true,
-                                                            true, true,
-                                                            false)), (String
-                                                            ((Ascii (true,
-                                                            false, false,
-                                                            true, false,
-                                                            true, true,
-                                                            false)), (String
-                                                            ((Ascii (true,
-                                                            true, true, true,
-                                                            false, true,
-                                                            true, false)),
-                                                            (String ((Ascii
-                                                            (false, true,
-                                                            true, true,
-                                                            false, true,
-                                                            true, false)),
-                                                            EmptyString))))))))))))))))))))))))))))))))))))
-                                                            []) :: ((mkcut (S
-                                                                    (S (S (S
-                                                                    (S (S (S
-                                                                    (S (S (S
-                                                                    (S (S (S
-                                                                    (S (S (S
-                                                                    (S (S (S
-                                                                    (S (S (S
-                                                                    (S (S (S
-                                                                    (S (S (S
-                                                                    (S (S (S
-                                                                    (S (S (S
-                                                                    (S (S (S
-                                                                    (S (S (S
-                                                                    (S (S (S
-                                                                    (S (S (S
-                                                                    (S (S (S
-                                                                    (S (S (S
-                                                                    (S (S (S
-                                                                    (S (S (S
-                                                                    (S (S (S
-                                                                    (S (S (S
-                                                                    (S (S (S
-                                                                    (S (S (S
-                                                                    (S (S (S
-                                                                    (S (S (S
-                                                                    (S (S (S
-                                                                    O)))))))))))))))))))))))))))))))))))))))))))))))))))))))))))))))))))))))))))))))
-                                                                    (S (S (S
-                                                                    (S (S (S
-                                                                    (S (S (S
-                                                                    (S (S (S
-                                                                    (S (S (S
-                                                                    (S (S (S
-                                                                    (S (S (S
-                                                                    (S (S (S
-                                                                    (S (S (S
-                                                                    (S (S (S
-                                                                    (S (S (S
-                                                                    (S (S (S
-                                                                    (S (S (S
-                                                                    (S (S (S
-                                                                    (S (S (S
-                                                                    (S (S (S
-                                                                    (S (S (S
-                                                                    (S (S (S
-                                                                    (S (S (S
-                                                                    (S (S (S
-                                                                    (S (S (S
-                                                                    (S (S (S
-                                                                    (S (S (S
-                                                                    (S (S (S
-                                                                    (S (S (S
-                                                                    (S (S (S
-                                                                    (S (S (S
-                                                                    (S (S (S
-                                                                    (S (S (S
-                                                                    (S (S (S
-                                                                    (S (S (S
-                                                                    (S
-                                                                    O))))))))))))))))))))))))))))))))))))))))))))))))))))))))))))))))))))))))))))))))))))))))))))))
-                                                                    (String
-                                                                    ((Ascii
-                                                                    (false,
-                                                                    false,
-                                                                    true,
-                                                                    false,
-                                                                    true,
-                                                                    false,
-                                                                    true,
-                                                                    false)),
-                                                                    (String
-                                                                    ((Ascii
-                                                                    (false,
-                                                                    true,
-                                                                    false,
-                                                                    false,
-                                                                    true,
-                                                                    true,
-                                                                    true,
-                                                                    false)),
-                                                                    (String
-                                                                    ((Ascii
-                                                                    (true,
-                                                                    false,
-                                                                    false,
-                                                                    false,
-                                                                    false,
-                                                                    true,
-                                                                    true,
-                                                                    false)),
-                                                                    (String
-                                                                    ((Ascii
-                                                                    (true,
-                                                                    true,
-                                                                    false,
-                                                                    false,
-                                                                    false,
-                                                                    true,
-                                                                    true,
-                                                                    false)),
-                                                                    (String
-                                                                    ((Ascii
-                                                                    (true,
-                                                                    false,
-                                                                    true,
-                                                                    false,
-                                                                    false,
-                                                                    true,
-                                                                    true,
-                                                                    false)),
-                                                                    (String
-                                                                    ((Ascii
-                                                                    (false,
-                                                                    true,
-                                                                    true,
-                                                                    true,
-                                                                    false,
-                                                                    false,
-                                                                    true,
-                                                                    false)),
-                                                                    (String
-                                                                    ((Ascii
-                                                                    (true,
-                                                                    false,
-                                                                    true,
-                                                                    false,
-                                                                    true,
-                                                                    true,
-                                                                    true,
-                                                                    false)),
-                                                                    (String
-                                                                    ((Ascii
-                                                                    (true,
-                                                                    false,
-                                                                    true,
-                                                                    true,
-                                                                    false,
-                                                                    true,
-                                                                    true,
-                                                                    false)),
-                                                                    (String
-                                                                    ((Ascii
-                                                                    (false,
-                                                                    true,
-                                                                    false,
-                                                                    false,
-                                                                    false,
-                                                                    true,
-                                                                    true,
-                                                                    false)),
-                                                                    (String
-                                                                    ((Ascii
-                                                                    (true,
-                                                                    false,
-                                                                    true,
-                                                                    false,
-                                                                    false,
-                                                                    true,
-                                                                    true,
-                                                                    false)),
-                                                                    (String
-                                                                    ((Ascii
-                                                                    (false,
-                                                                    true,
-                                                                    false,
-                                                                    false,
-                                                                    true,
-                                                                    true,
-                                                                    true,
-                                                                    false)),
-                                                                    EmptyString))))))))))))))))))))))
-                                                                    []) :: [])))))))))))) }
-
-(** val l_BatchControl : layout **)
-
-let l_BatchControl =
-  { l_name = (String ((Ascii (false, true, false, false, false, false, true,
-    false)), (String ((Ascii (true, false, false, false, false, true, true,
-    false)), (String ((Ascii (false, false, true, false, true, true, true,
-    false)), (String ((Ascii (true, true, false, false, false, true, true,
-    false)), (String ((Ascii (false, false, false, true, false, true, true,
-    false)), (String ((Ascii (true, true, false, false, false, false, true,
-    false)), (String ((Ascii (true, true, true, true, false, true, true,
-    false)), (String ((Ascii (false, true, true, true, false, true, true,
-    false)), (String ((Ascii (false, false, true, false, true, true, true,
-    false)), (String ((Ascii (false, true, false, false, true, true, true,
-    false)), (String ((Ascii (true, true, true, true, false, true, true,
-    false)), (String ((Ascii (false, false, true, true, false, true, true,
-    false)), EmptyString)))))))))))))))))))))))); l_ix = IByte; l_segs =
-    ((SLit ((Npos (XO (XO (XO (XI (XI XH)))))) :: [])) :: ((SItoa (String
-    ((Ascii (true, true, false, false, true, false, true, false)), (String
-    ((Ascii (true, false, true, false, false, true, true, false)), (String
-    ((Ascii (false, true, false, false, true, true, true, false)), (String
-    ((Ascii (false, true, true, false, true, true, true, false)), (String
-    ((Ascii (true, false, false, true, false, true, true, false)), (String
-    ((Ascii (true, true, false, false, false, true, true, false)), (String
-    ((Ascii (true, false, true, false, false, true, true, false)), (String
-    ((Ascii (true, true, false, false, false, false, true, false)), (String
-    ((Ascii (false, false, true, true, false, true, true, false)), (String
-    ((Ascii (true, false, false, false, false, true, true, false)), (String
-    ((Ascii (true, true, false, false, true, true, true, false)), (String
-    ((Ascii (true, true, false, false, true, true, true, false)), (String
-    ((Ascii (true, true, false, false, false, false, true, false)), (String
-    ((Ascii (true, true, true, true, false, true, true, false)), (String
-    ((Ascii (false, false, true, false, false, true, true, false)), (String
-    ((Ascii (true, false, true, false, false, true, true, false)),
-    EmptyString))))))))))))))))))))))))))))))))) :: ((SNum ((String ((Ascii
-    (true, false, true, false, false, false, true, false)), (String ((Ascii
-    (false, true, true, true, false, true, true, false)), (String ((Ascii
-    (false, false, true, false, true, true, true, false)), (String ((Ascii
-    (false, true, false, false, true, true, true, false)), (String ((Ascii
-    (true, false, false, true, true, true, true, false)), (String ((Ascii
-    (true, false, false, false, false, false, true, false)), (String ((Ascii
-    (false, false, true, false, false, true, true, false)), (String ((Ascii
-    (false, false, true, false, false, true, true, false)), (String ((Ascii
-    (true, false, true, false, false, true, true, false)), (String ((Ascii
-    (false, true, true, true, false, true, true, false)), (String ((Ascii
-    (false, false, true, false, false, true, true, false)), (String ((Ascii
-    (true, false, false, false, false, true, true, false)), (String ((Ascii
-    (true, true, false, false, false, false, true, false)), (String ((Ascii
-    (true, true, true, true, false, true, true, false)), (String ((Ascii
-    (true, false, true, false, true, true, true, false)), (String ((Ascii
-    (false, true, true, true, false, true, true, false)), (String ((Ascii
-    (false, false, true, false, true, true, true, false)),
-    EmptyString)))))))))))))))))))))))))))))))))), (S (S (S (S (S (S
-    O)))))))) :: ((SNum ((String ((Ascii (true, false, true, false, false,
-    false, true, false)), (String ((Ascii (false, true, true, true, false,
-    true, true, false)), (String ((Ascii (false, false, true, false, true,
-    true, true, false)), (String ((Ascii (false, true, false, false, true,
-    true, true, false)), (String ((Ascii (true, false, false, true, true,
-    true, true, false)), (String ((Ascii (false, false, false, true, false,
-    false, true, false)), (String ((Ascii (true, false, false, false, false,
-    true, true, false)), (String ((Ascii (true, true, false, false, true,
-    true, true, false)), (String ((Ascii (false, false, false, true, false,
-    true, true, false)), EmptyString)))))))))))))))))), (S (S (S (S (S (S (S
-    (S (S (S O)))))))))))) :: ((SNum ((String ((Ascii (false, false, true,
-    false, true, false, true, false)), (String ((Ascii (true, true, true,
-    true, false, true, true, false)), (String ((Ascii (false, false, true,
-    false, true, true, true, false)), (String ((Ascii (true, false, false,
-    false, false, true, true, false)), (String ((Ascii (false, false, true,
-    true, false, true, true, false)), (String ((Ascii (false, false, true,
-    false, false, false, true, false)), (String ((Ascii (true, false, true,
-    false, false, true, true, false)), (String ((Ascii (false, true, false,
-    false, false, true, true, false)), (String ((Ascii (true, false, false,
-    true, false, true, true, false)), (String ((Ascii (false, false, true,
-    false, true, true, true, false)), (String ((Ascii (true, false, true,
-    false, false, false, true, false)), (String ((Ascii (false, true, true,
-    true, false, true, true, false)), (String ((Ascii (false, false, true,
-    false, true, true, true, false)), (String ((Ascii (false, true, false,
-    false, true, true, true, false)), (String ((Ascii (true, false, false,
-    true, true, true, true, false)), (String ((Ascii (false, false, true,
-    false, false, false, true, false)), (String ((Ascii (true, true, true,
-    true, false, true, true, false)), (String ((Ascii (false, false, true,
-    true, false, true, true, false)), (String ((Ascii (false, false, true,
-    true, false, true, true, false)), (String ((Ascii (true, false, false,
-    false, false, true, true, false)), (String ((Ascii (false, true, false,
-    false, true, true, true, false)), (String ((Ascii (true, false, false,
-    false, false, false, true, false)), (String ((Ascii (true, false, true,
-    true, false, true, true, false)), (String ((Ascii (true, true, true,
-    true, false, true, true, false)), (String ((Ascii (true, false, true,
-    false, true, true, true, false)), (String ((Ascii (false, true, true,
-    true, false, true, true, false)), (String ((Ascii (false, false, true,
-    false, true, true, true, false)),
-    EmptyString)))))))))))))))))))))))))))))))))))))))))))))))))))))), (S (S
-    (S (S (S (S (S (S (S (S (S (S O)))))))))))))) :: ((SNum ((String ((Ascii
-    (false, false, true, false, true, false, true, false)), (String ((Ascii
-    (true, true, true, true, false, true, true, false)), (String ((Ascii
-    (false, false, true, false, true, true, true, false)), (String ((Ascii
-    (true, false, false, false, false, true, true, false)), (String ((Ascii
-    (false, false, true, true, false, true, true, false)), (String ((Ascii
-    (true, true, false, false, false, false, true, false)), (String ((Ascii
-    (false, true, false, false, true, true, true, false)), (String ((Ascii
-    (true, false, true, false, false, true, true, false)), (String ((Ascii
-    (false, false, true, false, false, true, true, false)), (String ((Ascii
-    (true, false, false, true, false, true, true, false)), (String ((Ascii
-    (false, false, true, false, true, true, true, false)), (String ((Ascii
-    (true, false, true, false, false, false, true, false)), (String ((Ascii
-    (false, true, true, true, false, true, true, false)), (String ((Ascii
-    (false, false, true, false, true, true, true, false)), (String ((Ascii
-    (false, true, false, false, true, true, true, false)), (String ((Ascii
-    (true, false, false, true, true, true, true, false)), (String ((Ascii
-    (false, false, true, false, false, false, true, false)), (String ((Ascii
-    (true, true, true, true, false, true, true, false)), (String ((Ascii
-    (false, false, true, true, false, true, true, false)), (String ((Ascii
-    (false, false, true, true, false, true, true, false)), (String ((Ascii
-    (true, false, false, false, false, true, true, false)), (String ((Ascii
-    (false, true, false, false, true, true, true, false)), (String ((Ascii
-    (true, false, false, false, false, false, true, false)), (String ((Ascii
-    (true, false, true, true, false, true, true, false)), (String ((Ascii
-    (true, true, true, true, false, true, true, false)), (String ((Ascii
-    (true, false, true, false, true, true, true, false)), (String ((Ascii
-    (false, true, true, true, false, true, true, false)), (String ((Ascii
-    (false, false, true, false, true, true, true, false)),
-    EmptyString)))))))))))))))))))))))))))))))))))))))))))))))))))))))), (S
-    (S (S (S (S (S (S (S (S (S (S (S O)))))))))))))) :: ((SAlpha ((String
-    ((Ascii (true, true, false, false, false, false, true, false)), (String
-    ((Ascii (true, true, true, true, false, true, true, false)), (String
-    ((Ascii (true, false, true, true, false, true, true, false)), (String
-    ((Ascii (false, false, false, false, true, true, true, false)), (String
-    ((Ascii (true, false, false, false, false, true, true, false)), (String
-    ((Ascii (false, true, true, true, false, true, true, false)), (String
-    ((Ascii (true, false, false, true, true, true, true, false)), (String
-    ((Ascii (true, false, false, true, false, false, true, false)), (String
-    ((Ascii (false, false, true, false, false, true, true, false)), (String
-    ((Ascii (true, false, true, false, false, true, true, false)), (String
-    ((Ascii (false, true, true, true, false, true, true, false)), (String
-    ((Ascii (false, false, true, false, true, true, true, false)), (String
-    ((Ascii (true, false, false, true, false, true, true, false)), (String
-    ((Ascii (false, true, true, false, false, true, true, false)), (String
-    ((Ascii (true, false, false, true, false, true, true, false)), (String
-    ((Ascii (true, true, false, false, false, true, true, false)), (String
-    ((Ascii (true, false, false, false, false, true, true, false)), (String
-    ((Ascii (false, false, true, false, true, true, true, false)), (String
-    ((Ascii (true, false, false, true, false, true, true, false)), (String
-    ((Ascii (true, true, true, true, false, true, true, false)), (String
-    ((Ascii (false, true, true, true, false, true, true, false)),
-    EmptyString)))))))))))))))))))))))))))))))))))))))))), (S (S (S (S (S (S
-    (S (S (S (S O)))))))))))) :: ((SAlpha ((String ((Ascii (true, false,
-    true, true, false, false, true, false)), (String ((Ascii (true, false,
-    true, false, false, true, true, false)), (String ((Ascii (true, true,
-    false, false, true, true, true, false)), (String ((Ascii (true, true,
-    false, false, true, true, true, false)), (String ((Ascii (true, false,
-    false, false, false, true, true, false)), (String ((Ascii (true, true,
-    true, false, false, true, true, false)), (String ((Ascii (true, false,
-    true, false, false, true, true, false)), (String ((Ascii (true, false,
-    false, false, false, false, true, false)), (String ((Ascii (true, false,
-    true, false, true, true, true, false)), (String ((Ascii (false, false,
-    true, false, true, true, true, false)), (String ((Ascii (false, false,
-    false, true, false, true, true, false)), (String ((Ascii (true, false,
-    true, false, false, true, true, false)), (String ((Ascii (false, true,
-    true, true, false, true, true, false)), (String ((Ascii (false, false,
-    true, false, true, true, true, false)), (String ((Ascii (true, false,
-    false, true, false, true, true, false)), (String ((Ascii (true, true,
-    false, false, false, true, true, false)), (String ((Ascii (true, false,
-    false, false, false, true, true, false)), (String ((Ascii (false, false,
-    true, false, true, true, true, false)), (String ((Ascii (true, false,
-    false, true, false, true, true, false)), (String ((Ascii (true, true,
-    true, true, false, true, true, false)), (String ((Ascii (false, true,
-    true, true, false, true, true, false)), (String ((Ascii (true, true,
-    false, false, false, false, true, false)), (String ((Ascii (true, true,
-    true, true, false, true, true, false)), (String ((Ascii (false, false,
-    true, false, false, true, true, false)), (String ((Ascii (true, false,
-    true, false, false, true, true, false)),
-    EmptyString)))))))))))))))))))))))))))))))))))))))))))))))))), (S (S (S
-    (S (S (S (S (S (S (S (S (S (S (S (S (S (S (S (S
-    O))))))))))))))))))))) :: ((SLit ((Npos (XO (XO (XO (XO (XO
-    XH)))))) :: ((Npos (XO (XO (XO (XO (XO XH)))))) :: ((Npos (XO (XO (XO (XO
-    (XO XH)))))) :: ((Npos (XO (XO (XO (XO (XO XH)))))) :: ((Npos (XO (XO (XO
-    (XO (XO XH)))))) :: ((Npos (XO (XO (XO (XO (XO
-    XH)))))) :: []))))))) :: ((SStr ((String ((Ascii (true, true, true, true,
-    false, false, true, false)), (String ((Ascii (false, false, true, false,
-    false, false, true, false)), (String ((Ascii (false, true, true, false,
-    false, false, true, false)), (String ((Ascii (true, false, false, true,
-    false, false, true, false)), (String ((Ascii (true, false, false, true,
-    false, false, true, false)), (String ((Ascii (false, false, true, false,
-    false, true, true, false)), (String ((Ascii (true, false, true, false,
-    false, true, true, false)), (String ((Ascii (false, true, true, true,
-    false, true, true, false)), (String ((Ascii (false, false, true, false,
-    true, true, true, false)), (String ((Ascii (true, false, false, true,
-    false, true, true, false)), (String ((Ascii (false, true, true, false,
-    false, true, true, false)), (String ((Ascii (true, false, false, true,
-    false, true, true, false)), (String ((Ascii (true, true, false, false,
-    false, true, true, false)), (String ((Ascii (true, false, false, false,
-    false, true, true, false)), (String ((Ascii (false, false, true, false,
-    true, true, true, false)), (String ((Ascii (true, false, false, true,
-    false, true, true, false)), (String ((Ascii (true, true, true, true,
-    false, true, true, false)), (String ((Ascii (false, true, true, true,
-    false, true, true, false)),
-    EmptyString)))))))))))))))))))))))))))))))))))), (S (S (S (S (S (S (S (S
-    O)))))))))) :: ((SNum ((String ((Ascii (false, true, false, false, false,
-    false, true, false)), (String ((Ascii (true, false, false, false, false,
-    true, true, false)), (String ((Ascii (false, false, true, false, true,
-    true, true, false)), (String ((Ascii (true, true, false, false, false,
-    true, true, false)), (String ((Ascii (false, false, false, true, false,
-    true, true, false)), (String ((Ascii (false, true, true, true, false,
-    false, true, false)), (String ((Ascii (true, false, true, false, true,
-    true, true, false)), (String ((Ascii (true, false, true, true, false,
-    true, true, false)), (String ((Ascii (false, true, false, false, false,
-    true, true, false)), (String ((Ascii (true, false, true, false, false,
-    true, true, false)), (String ((Ascii (false, true, false, false, true,
-    true, true, false)), EmptyString)))))))))))))))))))))), (S (S (S (S (S (S
-    (S O))))))))) :: []))))))))))); l_cuts =
-    ((mkcut (S O) (S (S (S (S O)))) (String ((Ascii (true, true, false,
-       false, true, false, true, false)), (String ((Ascii (true, false, true,
-       false, false, true, true, false)), (String ((Ascii (false, true,
-       false, false, true, true, true, false)), (String ((Ascii (false, true,
-       true, false, true, true, true, false)), (String ((Ascii (true, false,
-       false, true, false, true, true, false)), (String ((Ascii (true, true,
-       false, false, false, true, true, false)), (String ((Ascii (true,
-       false, true, false, false, true, true, false)), (String ((Ascii (true,
-       true, false, false, false, false, true, false)), (String ((Ascii
-       (false, false, true, true, false, true, true, false)), (String ((Ascii
-       (true, false, false, false, false, true, true, false)), (String
-       ((Ascii (true, true, false, false, true, true, true, false)), (String
-       ((Ascii (true, true, false, false, true, true, true, false)), (String
-       ((Ascii (true, true, false, false, false, false, true, false)),
-       (String ((Ascii (true, true, true, true, false, true, true, false)),
-       (String ((Ascii (false, false, true, false, false, true, true,
-       false)), (String ((Ascii (true, false, true, false, false, true, true,
-       false)), EmptyString)))))))))))))))))))))))))))))))) ((String ((Ascii
-       (false, false, false, false, true, true, true, false)), (String
-       ((Ascii (true, false, false, false, false, true, true, false)),
-       (String ((Ascii (false, true, false, false, true, true, true, false)),
-       (String ((Ascii (true, true, false, false, true, true, true, false)),
-       (String ((Ascii (true, false, true, false, false, true, true, false)),
-       (String ((Ascii (false, true, true, true, false, false, true, false)),
-       (String ((Ascii (true, false, true, false, true, true, true, false)),
-       (String ((Ascii (true, false, true, true, false, true, true, false)),
-       (String ((Ascii (false, true, true, false, false, false, true,
-       false)), (String ((Ascii (true, false, false, true, false, true, true,
-       false)), (String ((Ascii (true, false, true, false, false, true, true,
-       false)), (String ((Ascii (false, false, true, true, false, true, true,
-       false)), (String ((Ascii (false, false, true, false, false, true,
-       true, false)), EmptyString)))))))))))))))))))))))))) :: [])) :: (
-    (mkcut (S (S (S (S O)))) (S (S (S (S (S (S (S (S (S (S O))))))))))
-      (String ((Ascii (true, false, true, false, false, false, true, false)),
-      (String ((Ascii (false, true, true, true, false, true, true, false)),
-      (String ((Ascii (false, false, true, false, true, true, true, false)),
-      (String ((Ascii (false, true, false, false, true, true, true, false)),
-      (String ((Ascii (true, false, false, true, true, true, true, false)),
-      (String ((Ascii (true, false, false, false, false, false, true,
-      false)), (String ((Ascii (false, false, true, false, false, true, true,
-      false)), (String ((Ascii (false, false, true, false, false, true, true,
-      false)), (String ((Ascii (true, false, true, false, false, true, true,
-      false)), (String ((Ascii (false, true, true, true, false, true, true,
-      false)), (String ((Ascii (false, false, true, false, false, true, true,
-      false)), (String ((Ascii (true, false, false, false, false, true, true,
-      false)), (String ((Ascii (true, true, false, false, false, false, true,
-      false)), (String ((Ascii (true, true, true, true, false, true, true,
-      false)), (String ((Ascii (true, false, true, false, true, true, true,
-      false)), (String ((Ascii (false, true, true, true, false, true, true,
-      false)), (String ((Ascii (false, false, true, false, true, true, true,
-      false)), EmptyString)))))))))))))))))))))))))))))))))) ((String ((Ascii
-      (false, false, false, false, true, true, true, false)), (String ((Ascii
-      (true, false, false, false, false, true, true, false)), (String ((Ascii
-      (false, true, false, false, true, true, true, false)), (String ((Ascii
-      (true, true, false, false, true, true, true, false)), (String ((Ascii
-      (true, false, true, false, false, true, true, false)), (String ((Ascii
-      (false, true, true, true, false, false, true, false)), (String ((Ascii
-      (true, false, true, false, true, true, true, false)), (String ((Ascii
-      (true, false, true, true, false, true, true, false)), (String ((Ascii
-      (false, true, true, false, false, false, true, false)), (String ((Ascii
-      (true, false, false, true, false, true, true, false)), (String ((Ascii
-      (true, false, true, false, false, true, true, false)), (String ((Ascii
-      (false, false, true, true, false, true, true, false)), (String ((Ascii
-      (false, false, true, false, false, true, true, false)),
-      EmptyString)))))))))))))))))))))))))) :: [])) :: ((mkcut (S (S (S (S (S
-                                                          (S (S (S (S (S
-                                                          O)))))))))) (S (S
-                                                          (S (S (S (S (S (S
-                                                          (S (S (S (S (S (S
-                                                          (S (S (S (S (S (S
-                                                          O))))))))))))))))))))
-                                                          (String ((Ascii
-                                                          (true, false, true,
-                                                          false, false,
-                                                          false, true,
-                                                          false)), (String
-                                                          ((Ascii (false,
-                                                          true, true, true,
-                                                          false, true, true,
-                                                          false)), (String
-                                                          ((Ascii (false,
-                                                          false, true, false,
-                                                          true, true, true,
-                                                          false)), (String
-                                                          ((Ascii (false,
-                                                          true, false, false,
-                                                          true, true, true,
-                                                          false)), (String
-                                                          ((Ascii (true,
-                                                          false, false, true,
-                                                          true, true, true,
-                                                          false)), (String
-                                                          ((Ascii (false,
-                                                          false, false, true,
-                                                          false, false, true,
-                                                          false)), (String
-                                                          ((Ascii (true,
-                                                          false, false,
-                                                          false, false, true,
-                                                          true, false)),
-                                                          (String ((Ascii
-                                                          (true, true, false,
-                                                          false, true, true,
-                                                          true, false)),
-                                                          (String ((Ascii
-                                                          (false, false,
-                                                          false, true, false,
-                                                          true, true,
-                                                          false)),
-                                                          EmptyString))))))))))))))))))
-                                                          ((String ((Ascii
-                                                          (false, false,
-                                                          false, false, true,
-                                                          true, true,
-                                                          false)), (String
-                                                          ((Ascii (true,
-                                                          false, false,
-                                                          false, false, true,
-                                                          true, false)),
-                                                          (String ((Ascii
-                                                          (false, true,
-                                                          false, false, true,
-                                                          true, true,
-                                                          false)), (String
-                                                          ((Ascii (true,
-                                                          true, false, false,
-                                                          true, true, true,
-                                                          false)), (String
-                                                          ((Ascii (true,
-                                                          false, true, false,
-                                                          false, true, true,
-                                                          false)), (String
-                                                          ((Ascii (false,
-                                                          true, true, true,
-                                                          false, false, true,
-                                                          false)), (String
-                                                          ((Ascii (true,
-                                                          false, true, false,
-                                                          true, true, true,
-                                                          false)), (String
-                                                          ((Ascii (true,
-                                                          false, true, true,
-                                                          false, true, true,
-                                                          false)), (String
-                                                          ((Ascii (false,
-                                                          true, true, false,
-                                                          false, false, true,
-                                                          false)), (String
-                                                          ((Ascii (true,
-                                                          false, false, true,
-                                                          false, true, true,
-                                                          false)), (String
-                                                          ((Ascii (true,
-                                                          false, true, false,
-                                                          false, true, true,
-                                                          false)), (String
-                                                          ((Ascii (false,
-                                                          false, true, true,
-                                                          false, true, true,
-                                                          false)), (String
-                                                          ((Ascii (false,
-                                                          false, true, false,
-                                                          false, true, true,
-                                                          false)),
-                                                          EmptyString)))))))))))))))))))))))))) :: [])) :: (
-    (mkcut (S (S (S (S (S (S (S (S (S (S (S (S (S (S (S (S (S (S (S (S
-      O)))))))))))))))))))) (S (S (S (S (S (S (S (S (S (S (S (S (S (S (S (S
-      (S (S (S (S (S (S (S (S (S (S (S (S (S (S (S (S
-      O)))))))))))))))))))))))))))))))) (String ((Ascii (false, false, true,
-      false, true, false, true, false)), (String ((Ascii (true, true, true,
-      true, false, true, true, false)), (String ((Ascii (false, false, true,
-      false, true, true, true, false)), (String ((Ascii (true, false, false,
-      false, false, true, true, false)), (String ((Ascii (false, false, true,
-      true, false, true, true, false)), (String ((Ascii (false, false, true,
-      false, false, false, true, false)), (String ((Ascii (true, false, true,
-      false, false, true, true, false)), (String ((Ascii (false, true, false,
-      false, false, true, true, false)), (String ((Ascii (true, false, false,
-      true, false, true, true, false)), (String ((Ascii (false, false, true,
-      false, true, true, true, false)), (String ((Ascii (true, false, true,
-      false, false, false, true, false)), (String ((Ascii (false, true, true,
-      true, false, true, true, false)), (String ((Ascii (false, false, true,
-      false, true, true, true, false)), (String ((Ascii (false, true, false,
-      false, true, true, true, false)), (String ((Ascii (true, false, false,
-      true, true, true, true, false)), (String ((Ascii (false, false, true,
-      false, false, false, true, false)), (String ((Ascii (true, true, true,
-      true, false, true, true, false)), (String ((Ascii (false, false, true,
-      true, false, true, true, false)), (String ((Ascii (false, false, true,
-      true, false, true, true, false)), (String ((Ascii (true, false, false,
-      false, false, true, true, false)), (String ((Ascii (false, true, false,
-      false, true, true, true, false)), (String ((Ascii (true, false, false,
-      false, false, false, true, false)), (String ((Ascii (true, false, true,
-      true, false, true, true, false)), (String ((Ascii (true, true, true,
-      true, false, true, true, false)), (String ((Ascii (true, false, true,
-      false, true, true, true, false)), (String ((Ascii (false, true, true,
-      true, false, true, true, false)), (String ((Ascii (false, false, true,
-      false, true, true, true, false)),
-      EmptyString))))))))))))))))))))))))))))))))))))))))))))))))))))))
-      ((String ((Ascii (false, false, false, false, true, true, true,
-      false)), (String ((Ascii (true, false, false, false, false, true, true,
-      false)), (String ((Ascii (false, true, false, false, true, true, true,
-      false)), (String ((Ascii (true, true, false, false, true, true, true,
-      false)), (String ((Ascii (true, false, true, false, false, true, true,
-      false)), (String ((Ascii (false, true, true, true, false, false, true,
-      false)), (String ((Ascii (true, false, true, false, true, true, true,
-      false)), (String ((Ascii (true, false, true, true, false, true, true,
-      false)), (String ((Ascii (false, true, true, false, false, false, true,
-      false)), (String ((Ascii (true, false, false, true, false, true, true,
-      false)), (String ((Ascii (true, false, true, false, false, true, true,
-      false)), (String ((Ascii (false, false, true, true, false, true, true,
-      false)), (String ((Ascii (false, false, true, false, false, true, true,
-      false)), EmptyString)))))))))))))))))))))))))) :: [])) :: ((mkcut (S (S
-                                                                   (S (S (S
-                                                                   (S (S (S
-                                                                   (S (S (S
-                                                                   (S (S (S
-                                                                   (S (S (S
-                                                                   (S (S (S
-                                                                   (S (S (S
-                                                                   (S (S (S
-                                                                   (S (S (S
-                                                                   (S (S (S
-                                                                   O))))))))))))))))))))))))))))))))
-                                                                   (S (S (S
-                                                                   (S (S (S
-                                                                   (S (S (S
-                                                                   (S (S (S
-                                                                   (S (S (S
-                                                                   (S (S (S
-                                                                   (S (S (S
-                                                                   (S (S (S
-                                                                   (S (S (S
-                                                                   (S (S (S
-                                                                   (S (S (S
-                                                                   (S (S (S
-                                                                   (S (S (S
-                                                                   (S (S (S
-                                                                   (S (S
-                                                                   O))))))))))))))))))))))))))))))))))))))))))))
-                                                                   (String
-                                                                   ((Ascii
-                                                                   (false,
-                                                                   false,
-                                                                   true,
-                                                                   false,
-                                                                   true,
-                                                                   false,
-                                                                   true,
-                                                                   false)),
-                                                                   (String
-                                                                   ((Ascii
-                                                                   (true,
-                                                                   true,
-                                                                   true,
-                                                                   true,
-                                                                   false,
-                                                                   true,
-                                                                   true,
-                                                                   false)),
-                                                                   (String
-                                                                   ((Ascii
-                                                                   (false,
-                                                                   false,
-                                                                   true,
-                                                                   false,
-                                                                   true,
-                                                                   true,
-                                                                   true,
-                                                                   false)),
-                                                                   (String
-                                                                   ((Ascii
-                                                                   (true,
-                                                                   false,
-                                                                   false,
-                                                                   false,
-                                                                   false,
-                                                                   true,
-                                                                   true,
-                                                                   false)),
-                                                                   (String
-                                                                   ((Ascii
-                                                                   (false,
-                                                                   false,
-                                                                   true,
-                                                                   true,
-                                                                   false,
-                                                                   true,
-                                                                   true,
-                                                                   false)),
-                                                                   (String
-                                                                   ((Ascii
-                                                                   (true,
-                                                                   true,
-                                                                   false,
-                                                                   false,
-                                                                   false,
-                                                                   false,
-                                                                   true,
-                                                                   false)),
-                                                                   (String
-                                                                   ((Ascii
-                                                                   (false,
-                                                                   true,
-                                                                   false,
-                                                                   false,
-                                                                   true,
-                                                                   true,
-                                                                   true,
-                                                                   false)),
-                                                                   (String
-                                                                   ((Ascii
-                                                                   (true,
-                                                                   false,
-                                                                   true,
-                                                                   false,
-                                                                   false,
-                                                                   true,
-                                                                   true,
-                                                                   false)),
-                                                                   (String
-                                                                   ((Ascii
-                                                                   (false,
-                                                                   false,
-                                                                   true,
-                                                                   false,
-                                                                   false,
-                                                                   true,
-                                                                   true,
-                                                                   false)),
-                                                                   (String
-                                                                   ((Ascii
-                                                                   (true,
-                                                                   false,
-                                                                   false,
-                                                                   true,
-                                                                   false,
-                                                                   true,
-                                                                   true,
-                                                                   false)),
-                                                                   (String
-                                                                   ((Ascii
-                                                                   (false,
-                                                                   false,
-                                                                   true,
-                                                                   false,
-                                                                   true,
-                                                                   true,
-                                                                   true,
-                                                                   false)),
-                                                                   (String
-                                                                   ((Ascii
-                                                                   (true,
-                                                                   false,
-                                                                   true,
-                                                                   false,
-                                                                   false,
-                                                                   false,
-                                                                   true,
-                                                                   false)),
-                                                                   (String
-                                                                   ((Ascii
-                                                                   (false,
-                                                                   true,
-                                                                   true,
-                                                                   true,
-                                                                   false,
-                                                                   true,
-                                                                   true,
-                                                                   false)),
-                                                                   (String
-                                                                   ((Ascii
-                                                                   (false,
-                                                                   false,
-                                                                   true,
-                                                                   false,
-                                                                   true,
-                                                                   true,
-                                                                   true,
-                                                                   false)),
-                                                                   (String
-                                                                   ((Ascii
-                                                                   (false,
-                                                                   true,
-                                                                   false,
-                                                                   false,
-                                                                   true,
-                                                                   true,
-                                                                   true,
-                                                                   false)),
-                                                                   (String
-                                                                   ((Ascii
-                                                                   (true,
-                                                                   false,
-                                                                   false,
-                                                                   true,
-                                                                   true,
-                                                                   true,
-                                                                   true,
-                                                                   false)),
-                                                                   (String
-                                                                   ((Ascii
-                                                                   (false,
-                                                                   false,
-                                                                   true,
-                                                                   false,
-                                                                   false,
-                                                                   false,
-                                                                   true,
-                                                                   false)),
-                                                                   (String
-                                                                   ((Ascii
-                                                                   (true,
-                                                                   true,
-                                                                   true,
-                                                                   true,
-                                                                   false,
-                                                                   true,
-                                                                   true,
-                                                                   false)),
-                                                                   (String
-                                                                   ((Ascii
-                                                                   (false,
-                                                                   false,
-                                                                   true,
-                                                                   true,
-                                                                   false,
-                                                                   true,
-                                                                   true,
-                                                                   false)),
-                                                                   (String
-                                                                   ((Ascii
-                                                                   (false,
-                                                                   false,
-                                                                   true,
-                                                                   true,
-                                                                   false,
-                                                                   true,
-                                                                   true,
-                                                                   false)),
-                                                                   (String
-                                                                   ((Ascii
-                                                                   (true,
-                                                                   false,
-                                                                   false,
-                                                                   false,
-                                                                   false,
-                                                                   true,
-                                                                   true,
-                                                                   false)),
-                                                                   (String
-                                                                   ((Ascii
-                                                                   (false,
-                                                                   true,
-                                                                   false,
-                                                                   false,
-                                                                   true,
-                                                                   true,
-                                                                   true,
-                                                                   false)),
-                                                                   (String
-                                                                   ((Ascii
-                                                                   (true,
-                                                                   false,
-                                                                   false,
-                                                                   false,
-                                                                   false,
-                                                                   false,
-                                                                   true,
-                                                                   false)),
-                                                                   (String
-                                                                   ((Ascii
-                                                                   (true,
-                                                                   false,
-                                                                   true,
-                                                                   true,
-                                                                   false,
-                                                                   true,
-                                                                   true,
-                                                                   false)),
-                                                                   (String
-                                                                   ((Ascii
-                                                                   (true,
-                                                                   true,
-                                                                   true,
-                                                                   true,
-                                                                   false,
-                                                                   true,
-                                                                   true,
-                                                                   false)),
-                                                                   (String
-                                                                   ((Ascii
-                                                                   (true,
-                                                                   false,
-                                                                   true,
-                                                                   false,
-                                                                   true,
-                                                                   true,
-                                                                   true,
-                                                                   false)),
-                                                                   (String
-                                                                   ((Ascii
-                                                                   (false,
-                                                                   true,
-                                                                   true,
-                                                                   true,
-                                                                   false,
-                                                                   true,
-                                                                   true,
-                                                                   false)),
-                                                                   (String
-                                                                   ((Ascii
-                                                                   (false,
-                                                                   false,
-                                                                   true,
-                                                                   false,
-                                                                   true,
-                                                                   true,
-                                                                   true,
-                                                                   false)),
-                                                                   EmptyString))))))))))))))))))))))))))))))))))))))))))))))))))))))))
-                                                                   ((String
-                                                                   ((Ascii
-                                                                   (false,
-                                                                   false,
-                                                                   false,
-                                                                   false,
-                                                                   true,
-                                                                   true,
-                                                                   true,
-                                                                   false)),
-                                                                   (String
-                                                                   ((Ascii
-                                                                   (true,
-                                                                   false,
-                                                                   false,
-                                                                   false,
-                                                                   false,
-                                                                   true,
-                                                                   true,
-                                                                   false)),
-                                                                   (String
-                                                                   ((Ascii
-                                                                   (false,
-                                                                   true,
-                                                                   false,
-                                                                   false,
-                                                                   true,
-                                                                   true,
-                                                                   true,
-                                                                   false)),
-                                                                   (String
-                                                                   ((Ascii
-                                                                   (true,
-                                                                   true,
-                                                                   false,
-                                                                   false,
-                                                                   true,
-                                                                   true,
-                                                                   true,
-                                                                   false)),
-                                                                   (String
-                                                                   ((Ascii
-                                                                   (true,
-                                                                   false,
-                                                                   true,
-                                                                   false,
-                                                                   false,
-                                                                   true,
-                                                                   true,
-                                                                   false)),
-                                                                   (String
-                                                                   ((Ascii
-                                                                   (false,
-                                                                   true,
-                                                                   true,
-                                                                   true,
-                                                                   false,
-                                                                   false,
-                                                                   true,
-                                                                   false)),
-                                                                   (String
-                                                                   ((Ascii
-                                                                   (true,
-                                                                   false,
-                                                                   true,
-                                                                   false,
-                                                                   true,
-                                                                   true,
-                                                                   true,
-                                                                   false)),
-                                                                   (String
-                                                                   ((Ascii
-                                                                   (true,
-                                                                   false,
-                                                                   true,
-                                                                   true,
-                                                                   false,
-                                                                   true,
-                                                                   true,
-                                                                   false)),
-                                                                   (String
-                                                                   ((Ascii
-                                                                   (false,
-                                                                   true,
-                                                                   true,
-                                                                   false,
-                                                                   false,
-                                                                   false,
-                                                                   true,
-                                                                   false)),
-                                                                   (String
-                                                                   ((Ascii
-                                                                   (true,
-                                                                   false,
-                                                                   false,
-                                                                   true,
-                                                                   false,
-                                                                   true,
-                                                                   true,
-                                                                   false)),
-                                                                   (String
-                                                                   ((Ascii
-                                                                   (true,
-                                                                   false,
-                                                                   true,
-                                                                   false,
-                                                                   false,
-                                                                   true,
-                                                                   true,
-                                                                   false)),
-                                                                   (String
-                                                                   ((Ascii
-                                                                   (false,
-                                                                   false,
-                                                                   true,
-                                                                   true,
-                                                                   false,
-                                                                   true,
-                                                                   true,
-                                                                   false)),
-                                                                   (String
-                                                                   ((Ascii
-                                                                   (false,
-                                                                   false,
-                                                                   true,
-                                                                   false,
-                                                                   false,
-                                                                   true,
-                                                                   true,
-                                                                   false)),
-                                                                   EmptyString)))))))))))))))))))))))))) :: [])) :: (
-    (mkcut (S (S (S (S (S (S (S (S (S (S (S (S (S (S (S (S (S (S (S (S (S (S
-      (S (S (S (S (S (S (S (S (S (S (S (S (S (S (S (S (S (S (S (S (S (S
-      O)))))))))))))))))))))))))))))))))))))))))))) (S (S (S (S (S (S (S (S
-      (S (S (S (S (S (S (S (S (S (S (S (S (S (S (S (S (S (S (S (S (S (S (S (S
-      (S (S (S (S (S (S (S (S (S (S (S (S (S (S (S (S (S (S (S (S (S (S
-      O)))))))))))))))))))))))))))))))))))))))))))))))))))))) (String ((Ascii
-      (true, true, false, false, false, false, true, false)), (String ((Ascii
-      (true, true, true, true, false, true, true, false)), (String ((Ascii
-      (true, false, true, true, false, true, true, false)), (String ((Ascii
-      (false, false, false, false, true, true, true, false)), (String ((Ascii
-      (true, false, false, false, false, true, true, false)), (String ((Ascii
-      (false, true, true, true, false, true, true, false)), (String ((Ascii
-      (true, false, false, true, true, true, true, false)), (String ((Ascii
-      (true, false, false, true, false, false, true, false)), (String ((Ascii
-      (false, false, true, false, false, true, true, false)), (String ((Ascii
-      (true, false, true, false, false, true, true, false)), (String ((Ascii
-      (false, true, true, true, false, true, true, false)), (String ((Ascii
-      (false, false, true, false, true, true, true, false)), (String ((Ascii
-      (true, false, false, true, false, true, true, false)), (String ((Ascii
-      (false, true, true, false, false, true, true, false)), (String ((Ascii
-      (true, false, false, true, false, true, true, false)), (String ((Ascii
-      (true, true, false, false, false, true, true, false)), (String ((Ascii
-      (true, false, false, false, false, true, true, false)), (String ((Ascii
-      (false, false, true, false, true, true, true, false)), (String ((Ascii
-      (true, false, false, true, false, true, true, false)), (String ((Ascii
-      (true, true, true, true, false, true, true, false)), (String ((Ascii
-      (false, true, true, true, false, true, true, false)),
-      EmptyString)))))))))))))))))))))))))))))))))))))))))) ((String ((Ascii
-      (false, false, false, false, true, true, true, false)), (String ((Ascii
-      (true, false, false, false, false, true, true, false)), (String ((Ascii
-      (false, true, false, false, true, true, true, false)), (String ((Ascii
-      (true, true, false, false, true, true, true, false)), (String ((Ascii
-      (true, false, true, false, false, true, true, false)), (String ((Ascii
-      (true, true, false, false, true, false, true, false)), (String ((Ascii
-      (false, false, true, false, true, true, true, false)), (String ((Ascii
-      (false, true, false, false, true, true, true, false)), (String ((Ascii
-      (true, false, false, true, false, true, true, false)), (String ((Ascii
-      (false, true, true, true, false, true, true, false)), (String ((Ascii
-      (true, true, true, false, false, true, true, false)), (String ((Ascii
-      (false, true, true, false, false, false, true, false)), (String ((Ascii
-      (true, false, false, true, false, true, true, false)), (String ((Ascii
-      (true, false, true, false, false, true, true, false)), (String ((Ascii
-      (false, false, true, true, false, true, true, false)), (String ((Ascii
-      (false, false, true, false, false, true, true, false)), (String ((Ascii
-      (true, true, true, false, true, false, true, false)), (String ((Ascii
-      (true, false, false, true, false, true, true, false)), (String ((Ascii
-      (false, false, true, false, true, true, true, false)), (String ((Ascii
-      (false, false, false, true, false, true, true, false)), (String ((Ascii
-      (true, true, true, true, false, false, true, false)), (String ((Ascii
-      (false, false, false, false, true, true, true, false)), (String ((Ascii
-      (false, false, true, false, true, true, true, false)), (String ((Ascii
-      (true, true, false, false, true, true, true, false)),
-      EmptyString)))))))))))))))))))))))))))))))))))))))))))))))) :: [])) :: (
-    (mkcut (S (S (S (S (S (S (S (S (S (S (S (S (S (S (S (S (S (S (S (S (S (S
-      (S (S (S (S (S (S (S (S (S (S (S (S (S (S (S (S (S (S (S (S (S (S (S (S
-      (S (S (S (S (S (S (S (S
-      O)))))))))))))))))))))))))))))))))))))))))))))))))))))) (S (S (S (S (S
-      (S (S (S (S (S (S (S (S (S (S (S (S (S (S (S (S (S (S (S (S (S (S (S (S
-      (S (S (S (S (S (S (S (S (S (S (S (S (S (S (S (S (S (S (S (S (S (S (S (S
-      (S (S (S (S (S (S (S (S (S (S (S (S (S (S (S (S (S (S (S (S
-      O)))))))))))))))))))))))))))))))))))))))))))))))))))))))))))))))))))))))))
-      (String ((Ascii (true, false, true, true, false, false, true, false)),
-      (String ((Ascii (true, false, true, false, false, true, true, false)),
-      (String ((Ascii (true, true, false, false, true, true, true, false)),
-      (String ((Ascii (true, true, false, false, true, true, true, false)),
-      (String ((Ascii (true, false, false, false, false, true, true, false)),
-      (String ((Ascii (true, true, true, false, false, true, true, false)),
-      (String ((Ascii (true, false, true, false, false, true, true, false)),
-      (String ((Ascii (true, false, false, false, false, false, true,
-      false)), (String ((Ascii (true, false, true, false, true, true, true,
-      false)), (String ((Ascii (false, false, true, false, true, true, true,
-      false)), (String ((Ascii (false, false, false, true, false, true, true,
-      false)), (String ((Ascii (true, false, true, false, false, true, true,
-      false)), (String ((Ascii (false, true, true, true, false, true, true,
-      false)), (String ((Ascii (false, false, true, false, true, true, true,
-      false)), (String ((Ascii (true, false, false, true, false, true, true,
-      false)), (String ((Ascii (true, true, false, false, false, true, true,
-      false)), (String ((Ascii (true, false, false, false, false, true, true,
-      false)), (String ((Ascii (false, false, true, false, true, true, true,
-      false)), (String ((Ascii (true, false, false, true, false, true, true,
-      false)), (String ((Ascii (true, true, true, true, false, true, true,
-      false)), (String ((Ascii (false, true, true, true, false, true, true,
-      false)), (String ((Ascii (true, true, false, false, false, false, true,
-      false)), (String ((Ascii (true, true, true, true, false, true, true,
-      false)), (String ((Ascii (false, false, true, false, false, true, true,
-      false)), (String ((Ascii (true, false, true, false, false, true, true,
-      false)), EmptyString))))))))))))))))))))))))))))))))))))))))))))))))))
-      ((String ((Ascii (false, false, false, false, true, true, true,
-      false)), (String ((Ascii (true, false, false, false, false, true, true,
-      false)), (String ((Ascii (false, true, false, false, true, true, true,
-      false)), (String ((Ascii (true, true, false, false, true, true, true,
-      false)), (String ((Ascii (true, false, true, false, false, true, true,
-      false)), (String ((Ascii (true, true, false, false, true, false, true,
-      false)), (String ((Ascii (false, false, true, false, true, true, true,
-      false)), (String ((Ascii (false, true, false, false, true, true, true,
-      false)), (String ((Ascii (true, false, false, true, false, true, true,
-      false)), (String ((Ascii (false, true, true, true, false, true, true,
-      false)), (String ((Ascii (true, true, true, false, false, true, true,
-      false)), (String ((Ascii (false, true, true, false, false, false, true,
-      false)), (String ((Ascii (true, false, false, true, false, true, true,
-      false)), (String ((Ascii (true, false, true, false, false, true, true,
-      false)), (String ((Ascii (false, false, true, true, false, true, true,
-      false)), (String ((Ascii (false, false, true, false, false, true, true,
-      false)), (String ((Ascii (true, true, true, false, true, false, true,
-      false)), (String ((Ascii (true, false, false, true, false, true, true,
-      false)), (String ((Ascii (false, false, true, false, true, true, true,
-      false)), (String ((Ascii (false, false, false, true, false, true, true,
-      false)), (String ((Ascii (true, true, true, true, false, false, true,
-      false)), (String ((Ascii (false, false, false, false, true, true, true,
-      false)), (String ((Ascii (false, false, true, false, true, true, true,
-      false)), (String ((Ascii (true, true, false, false, true, true, true,
-      false)),
-      EmptyString)))))))))))))))))))))))))))))))))))))))))))))))) :: [])) :: (
-    (mkcut (S (S (S (S (S (S (S (S (S (S (S (S (S (S (S (S (S (S (S (S (S (S
-      (S (S (S (S (S (S (S (S (S (S (S (S (S (S (S (S (S (S (S (S (S (S (S (S
-      (S (S (S (S (S (S (S (S (S (S (S (S (S (S (S (S (S (S (S (S (S (S (S (S
-      (S (S (S (S (S (S (S (S (S
-      O)))))))))))))))))))))))))))))))))))))))))))))))))))))))))))))))))))))))))))))))
-      (S (S (S (S (S (S (S (S (S (S (S (S (S (S (S (S (S (S (S (S (S (S (S (S
-      (S (S (S (S (S (S (S (S (S (S (S (S (S (S (S (S (S (S (S (S (S (S (S (S
-      (S (S (S (S (S (S (S (S (S (S (S (S (S (S (S (S (S (S (S (S (S (S (S (S
-      (S (S (S (S (S (S (S (S (S (S (S (S (S (S (S
-      O)))))))))))))))))))))))))))))))))))))))))))))))))))))))))))))))))))))))))))))))))))))))
-      (String ((Ascii (true, true, true, true, false, false, true, false)),
-      (String ((Ascii (false, false, true, false, false, false, true,
-      false)), (String ((Ascii (false, true, true, false, false, false, true,
-      false)), (String ((Ascii (true, false, false, true, false, false, true,
-      false)), (String ((Ascii (true, false, false, true, false, false, true,
-      false)), (String ((Ascii (false, false, true, false, false, true, true,
-      false)), (String ((Ascii (true, false, true, false, false, true, true,
-      false)), (String ((Ascii (false, true, true, true, false, true, true,
-      false)), (String ((Ascii (false, false, true, false, true, true, true,
-      false)), (String ((Ascii (true, false, false, true, false, true, true,
-      false)), (String ((Ascii (false, true, true, false, false, true, true,
-      false)), (String ((Ascii (true, false, false, true, false, true, true,
-      false)), (String ((Ascii (true, true, false, false, false, true, true,
-      false)), (String ((Ascii (true, false, false, false, false, true, true,
-      false)), (String ((Ascii (false, false, true, false, true, true, true,
-      false)), (String ((Ascii (true, false, false, true, false, true, true,
-      false)), (String ((Ascii (true, true, true, true, false, true, true,
-      false)), (String ((Ascii (false, true, true, true, false, true, true,
-      false)), EmptyString)))))))))))))))))))))))))))))))))))) ((String
-      ((Ascii (false, false, false, false, true, true, true, false)), (String
-      ((Ascii (true, false, false, false, false, true, true, false)), (String
-      ((Ascii (false, true, false, false, true, true, true, false)), (String
-      ((Ascii (true, true, false, false, true, true, true, false)), (String
-      ((Ascii (true, false, true, false, false, true, true, false)), (String
-      ((Ascii (true, true, false, false, true, false, true, false)), (String
-      ((Ascii (false, false, true, false, true, true, true, false)), (String
-      ((Ascii (false, true, false, false, true, true, true, false)), (String
-      ((Ascii (true, false, false, true, false, true, true, false)), (String
-      ((Ascii (false, true, true, true, false, true, true, false)), (String
-      ((Ascii (true, true, true, false, false, true, true, false)), (String
-      ((Ascii (false, true, true, false, false, false, true, false)), (String
-      ((Ascii (true, false, false, true, false, true, true, false)), (String
-      ((Ascii (true, false, true, false, false, true, true, false)), (String
-      ((Ascii (false, false, true, true, false, true, true, false)), (String
-      ((Ascii (false, false, true, false, false, true, true, false)), (String
-      ((Ascii (true, true, true, false, true, false, true, false)), (String
-      ((Ascii (true, false, false, true, false, true, true, false)), (String
-      ((Ascii (false, false, true, false, true, true, true, false)), (String
-      ((Ascii (false, false, false, true, false, true, true, false)), (String
-      ((Ascii (true, true, true, true, false, false, true, false)), (String
-      ((Ascii (false, false, false, false, true, true, true, false)), (String
-      ((Ascii (false, false, true, false, true, true, true, false)), (String
-      ((Ascii (true, true, false, false, true, true, true, false)),
-      EmptyString)))))))))))))))))))))))))))))))))))))))))))))))) :: [])) :: (
-    (mkcut (S (S (S (S (S (S (S (S (S (S (S (S (S (S (S (S (S (S (S (S (S (S
-      (S (S (S (S (S (S (S (S (S (S (S (S (S (S (S (S (S (S (S (S (S (S (S (S
-      (S (S (S (S (S (S (S (S (S (S (S (S (S (S (S (S (S (S (S (S (S (S (S (S
-      (S (S (S (S (S (S (S (S (S (S (S (S (S (S (S (S (S
-      O)))))))))))))))))))))))))))))))))))))))))))))))))))))))))))))))))))))))))))))))))))))))
-      (S (S (S (S (S (S (S (S (S (S (S (S (S (S (S (S (S (S (S (S (S (S (S (S
-      (S (S (S (S (S (S (S (S (S (S (S (S (S (S (S (S (S (S (S (S (S (S (S (S
-      (S (S (S (S (S (S (S (S (S (S (S (S (S (S (S (S (S (S (S (S (S (S (S (S
-      (S (S (S (S (S (S (S (S (S (S (S (S (S (S (S (S (S (S (S (S (S (S
-      O))))))))))))))))))))))))))))))))))))))))))))))))))))))))))))))))))))))))))))))))))))))))))))))
-      (String ((Ascii (false, true, false, false, false, false, true,
-      false)), (String ((Ascii (true, false, false, false, false, true, true,
-      false)), (String ((Ascii (false, false, true, false, true, true, true,
-      false)), (String ((Ascii (true, true, false, false, false, true, true,
-      false)), (String ((Ascii (false, false, false, true, false, true, true,
-      false)), (String ((Ascii (false, true, true, true, false, false, true,
-      false)), (String ((Ascii (true, false, true, false, true, true, true,
-      false)), (String ((Ascii (true, false, true, true, false, true, true,
-      false)), (String ((Ascii (false, true, false, false, false, true, true,
-      false)), (String ((Ascii (true, false, true, false, false, true, true,
-      false)), (String ((Ascii (false, true, false, false, true, true, true,
-      false)), EmptyString)))))))))))))))))))))) ((String ((Ascii (false,
-      false, false, false, true, true, true, false)), (String ((Ascii (true,
-      false, false, false, false, true, true, false)), (String ((Ascii
-      (false, true, false, false, true, true, true, false)), (String ((Ascii
-      (true, true, false, false, true, true, true, false)), (String ((Ascii
-      (true, false, true, false, false, true, true, false)), (String ((Ascii
-      (false, true, true, true, false, false, true, false)), (String ((Ascii
-      (true, false, true, false, true, true, true, false)), (String ((Ascii
-      (true, false, true, true, false, true, true, false)), (String ((Ascii
-      (false, true, true, false, false, false, true, false)), (String ((Ascii
-      (true, false, false, true, false, true, true, false)), (String ((Ascii
-      (true, false, true, false, false, true, true, false)), (String ((Ascii
-      (false, false, true, true, false, true, true, false)), (String ((Ascii
-      (false, false, true, false, false, true, true, false)),
-      EmptyString)))))))))))))))))))))))))) :: [])) :: []))))))))) }
-
-(** val l_BatchHeader : layout **)
-
-let l_BatchHeader =
-  { l_name = (String ((Ascii (false, true, false, false, false, false, true,
-    false)), (String ((Ascii (true, false, false, false, false, true, true,
-    false)), (String ((Ascii (false, false, true, false, true, true, true,
-    false)), (String ((Ascii (true, true, false, false, false, true, true,
-    false)), (String ((Ascii (false, false, false, true, false, true, true,
-    false)), (String ((Ascii (false, false, false, true, false, false, true,
-    false)), (String ((Ascii (true, false, true, false, false, true, true,
-    false)), (String ((Ascii (true, false, false, false, false, true, true,
-    false)), (String ((Ascii (false, false, true, false, false, true, true,
-    false)), (String ((Ascii (true, false, true, false, false, true, true,
-    false)), (String ((Ascii (false, true, false, false, true, true, true,
-    false)), EmptyString)))))))))))))))))))))); l_ix = IRune; l_segs = ((SLit
-    ((Npos (XI (XO (XI (XO (XI XH)))))) :: [])) :: ((SItoa (String ((Ascii
-    (true, true, false, false, true, false, true, false)), (String ((Ascii
-    (true, false, true, false, false, true, true, false)), (String ((Ascii
-    (false, true, false, false, true, true, true, false)), (String ((Ascii
-    (false, true, true, false, true, true, true, false)), (String ((Ascii
-    (true, false, false, true, false, true, true, false)), (String ((Ascii
-    (true, true, false, false, false, true, true, false)), (String ((Ascii
-    (true, false, true, false, false, true, true, false)), (String ((Ascii
-    (true, true, false, false, false, false, true, false)), (String ((Ascii
-    (false, false, true, true, false, true, true, false)), (String ((Ascii
-    (true, false, false, false, false, true, true, false)), (String ((Ascii
-    (true, true, false, false, true, true, true, false)), (String ((Ascii
-    (true, true, false, false, true, true, true, false)), (String ((Ascii
-    (true, true, false, false, false, false, true, false)), (String ((Ascii
-    (true, true, true, true, false, true, true, false)), (String ((Ascii
-    (false, false, true, false, false, true, true, false)), (String ((Ascii
-    (true, false, true, false, false, true, true, false)),
-    EmptyString))))))))))))))))))))))))))))))))) :: ((SAlpha ((String ((Ascii
-    (true, true, false, false, false, false, true, false)), (String ((Ascii
-    (true, true, true, true, false, true, true, false)), (String ((Ascii
-    (true, false, true, true, false, true, true, false)), (String ((Ascii
-    (false, false, false, false, true, true, true, false)), (String ((Ascii
-    (true, false, false, false, false, true, true, false)), (String ((Ascii
-    (false, true, true, true, false, true, true, false)), (String ((Ascii
-    (true, false, false, true, true, true, true, false)), (String ((Ascii
-    (false, true, true, true, false, false, true, false)), (String ((Ascii
-    (true, false, false, false, false, true, true, false)), (String ((Ascii
-    (true, false, true, true, false, true, true, false)), (String ((Ascii
-    (true, false, true, false, false, true, true, false)),
-    EmptyString)))))))))))))))))))))), (S (S (S (S (S (S (S (S (S (S (S (S (S
-    (S (S (S O)))))))))))))))))) :: ((SAlpha ((String ((Ascii (true, true,
-    false, false, false, false, true, false)), (String ((Ascii (true, true,
-    true, true, false, true, true, false)), (String ((Ascii (true, false,
-    true, true, false, true, true, false)), (String ((Ascii (false, false,
-    false, false, true, true, true, false)), (String ((Ascii (true, false,
-    false, false, false, true, true, false)), (String ((Ascii (false, true,
-    true, true, false, true, true, false)), (String ((Ascii (true, false,
-    false, true, true, true, true, false)), (String ((Ascii (false, false,
-    true, false, false, false, true, false)), (String ((Ascii (true, false,
-    false, true, false, true, true, false)), (String ((Ascii (true, true,
-    false, false, true, true, true, false)), (String ((Ascii (true, true,
-    false, false, false, true, true, false)), (String ((Ascii (false, true,
-    false, false, true, true, true, false)), (String ((Ascii (true, false,
-    true, false, false, true, true, false)), (String ((Ascii (false, false,
-    true, false, true, true, true, false)), (String ((Ascii (true, false,
-    false, true, false, true, true, false)), (String ((Ascii (true, true,
-    true, true, false, true, true, false)), (String ((Ascii (false, true,
-    true, true, false, true, true, false)), (String ((Ascii (true, false,
-    false, false, false, true, true, false)), (String ((Ascii (false, true,
-    false, false, true, true, true, false)), (String ((Ascii (true, false,
-    false, true, true, true, true, false)), (String ((Ascii (false, false,
-    true, false, false, false, true, false)), (String ((Ascii (true, false,
-    false, false, false, true, true, false)), (String ((Ascii (false, false,
-    true, false, true, true, true, false)), (String ((Ascii (true, false,
-    false, false, false, true, true, false)),
-    EmptyString)))))))))))))))))))))))))))))))))))))))))))))))), (S (S (S (S
-    (S (S (S (S (S (S (S (S (S (S (S (S (S (S (S (S
-    O)))))))))))))))))))))) :: ((SAlpha ((String ((Ascii (true, true, false,
-    false, false, false, true, false)), (String ((Ascii (true, true, true,
-    true, false, true, true, false)), (String ((Ascii (true, false, true,
-    true, false, true, true, false)), (String ((Ascii (false, false, false,
-    false, true, true, true, false)), (String ((Ascii (true, false, false,
-    false, false, true, true, false)), (String ((Ascii (false, true, true,
-    true, false, true, true, false)), (String ((Ascii (true, false, false,
-    true, true, true, true, false)), (String ((Ascii (true, false, false,
-    true, false, false, true, false)), (String ((Ascii (false, false, true,
-    false, false, true, true, false)), (String ((Ascii (true, false, true,
-    false, false, true, true, false)), (String ((Ascii (false, true, true,
-    true, false, true, true, false)), (String ((Ascii (false, false, true,
-    false, true, true, true, false)), (String ((Ascii (true, false, false,
-    true, false, true, true, false)), (String ((Ascii (false, true, true,
-    false, false, true, true, false)), (String ((Ascii (true, false, false,
-    true, false, true, true, false)), (String ((Ascii (true, true, false,
-    false, false, true, true, false)), (String ((Ascii (true, false, false,
-    false, false, true, true, false)), (String ((Ascii (false, false, true,
-    false, true, true, true, false)), (String ((Ascii (true, false, false,
-    true, false, true, true, false)), (String ((Ascii (true, true, true,
-    true, false, true, true, false)), (String ((Ascii (false, true, true,
-    true, false, true, true, false)),
-    EmptyString)))))))))))))))))))))))))))))))))))))))))), (S (S (S (S (S (S
-    (S (S (S (S O)))))))))))) :: ((SRaw (String ((Ascii (true, true, false,
-    false, true, false, true, false)), (String ((Ascii (false, false, true,
-    false, true, true, true, false)), (String ((Ascii (true, false, false,
-    false, false, true, true, false)), (String ((Ascii (false, true, true,
-    true, false, true, true, false)), (String ((Ascii (false, false, true,
-    false, false, true, true, false)), (String ((Ascii (true, false, false,
-    false, false, true, true, false)), (String ((Ascii (false, true, false,
-    false, true, true, true, false)), (String ((Ascii (false, false, true,
-    false, false, true, true, false)), (String ((Ascii (true, false, true,
-    false, false, false, true, false)), (String ((Ascii (false, true, true,
-    true, false, true, true, false)), (String ((Ascii (false, false, true,
-    false, true, true, true, false)), (String ((Ascii (false, true, false,
-    false, true, true, true, false)), (String ((Ascii (true, false, false,
-    true, true, true, true, false)), (String ((Ascii (true, true, false,
-    false, false, false, true, false)), (String ((Ascii (false, false, true,
-    true, false, true, true, false)), (String ((Ascii (true, false, false,
-    false, false, true, true, false)), (String ((Ascii (true, true, false,
-    false, true, true, true, false)), (String ((Ascii (true, true, false,
-    false, true, true, true, false)), (String ((Ascii (true, true, false,
-    false, false, false, true, false)), (String ((Ascii (true, true, true,
-    true, false, true, true, false)), (String ((Ascii (false, false, true,
-    false, false, true, true, false)), (String ((Ascii (true, false, true,
-    false, false, true, true, false)),
-    EmptyString))))))))))))))))))))))))))))))))))))))))))))) :: ((SAlpha
-    ((String ((Ascii (true, true, false, false, false, false, true, false)),
-    (String ((Ascii (true, true, true, true, false, true, true, false)),
-    (String ((Ascii (true, false, true, true, false, true, true, false)),
-    (String ((Ascii (false, false, false, false, true, true, true, false)),
-    (String ((Ascii (true, false, false, false, false, true, true, false)),
-    (String ((Ascii (false, true, true, true, false, true, true, false)),
-    (String ((Ascii (true, false, false, true, true, true, true, false)),
-    (String ((Ascii (true, false, true, false, false, false, true, false)),
-    (String ((Ascii (false, true, true, true, false, true, true, false)),
-    (String ((Ascii (false, false, true, false, true, true, true, false)),
-    (String ((Ascii (false, true, false, false, true, true, true, false)),
-    (String ((Ascii (true, false, false, true, true, true, true, false)),
-    (String ((Ascii (false, false, true, false, false, false, true, false)),
-    (String ((Ascii (true, false, true, false, false, true, true, false)),
-    (String ((Ascii (true, true, false, false, true, true, true, false)),
-    (String ((Ascii (true, true, false, false, false, true, true, false)),
-    (String ((Ascii (false, true, false, false, true, true, true, false)),
-    (String ((Ascii (true, false, false, true, false, true, true, false)),
-    (String ((Ascii (false, false, false, false, true, true, true, false)),
-    (String ((Ascii (false, false, true, false, true, true, true, false)),
-    (String ((Ascii (true, false, false, true, false, true, true, false)),
-    (String ((Ascii (true, true, true, true, false, true, true, false)),
-    (String ((Ascii (false, true, true, true, false, true, true, false)),
-    EmptyString)))))))))))))))))))))))))))))))))))))))))))))), (S (S (S (S (S
-    (S (S (S (S (S O)))))))))))) :: ((SAlpha ((String ((Ascii (true, true,
-    false, false, false, false, true, false)), (String ((Ascii (true, true,
-    true, true, false, true, true, false)), (String ((Ascii (true, false,
-    true, true, false, true, true, false)), (String ((Ascii (false, false,
-    false, false, true, true, true, false)), (String ((Ascii (true, false,
-    false, false, false, true, true, false)), (String ((Ascii (false, true,
-    true, true, false, true, true, false)), (String ((Ascii (true, false,
-    false, true, true, true, true, false)), (String ((Ascii (false, false,
-    true, false, false, false, true, false)), (String ((Ascii (true, false,
-    true, false, false, true, true, false)), (String ((Ascii (true, true,
-    false, false, true, true, true, false)), (String ((Ascii (true, true,
-    false, false, false, true, true, false)), (String ((Ascii (false, true,
-    false, false, true, true, true, false)), (String ((Ascii (true, false,
-    false, true, false, true, true, false)), (String ((Ascii (false, false,
-    false, false, true, true, true, false)), (String ((Ascii (false, false,
-    true, false, true, true, true, false)), (String ((Ascii (true, false,
-    false, true, false, true, true, false)), (String ((Ascii (false, true,
-    true, false, true, true, true, false)), (String ((Ascii (true, false,
-    true, false, false, true, true, false)), (String ((Ascii (false, false,
-    true, false, false, false, true, false)), (String ((Ascii (true, false,
-    false, false, false, true, true, false)), (String ((Ascii (false, false,
-    true, false, true, true, true, false)), (String ((Ascii (true, false,
-    true, false, false, true, true, false)),
-    EmptyString)))))))))))))))))))))))))))))))))))))))))))), (S (S (S (S (S
-    (S O)))))))) :: ((SCustom ((String ((Ascii (false, true, false, false,
-    false, false, true, false)), (String ((Ascii (true, false, false, false,
-    false, true, true, false)), (String ((Ascii (false, false, true, false,
-    true, true, true, false)), (String ((Ascii (true, true, false, false,
-    false, true, true, false)), (String ((Ascii (false, false, false, true,
-    false, true, true, false)), (String ((Ascii (false, false, false, true,
-    false, false, true, false)), (String ((Ascii (true, false, true, false,
-    false, true, true, false)), (String ((Ascii (true, false, false, false,
-    false, true, true, false)), (String ((Ascii (false, false, true, false,
-    false, true, true, false)), (String ((Ascii (true, false, true, false,
-    false, true, true, false)), (String ((Ascii (false, true, false, false,
-    true, true, true, false)), (String ((Ascii (false, true, true, true,
-    false, true, false, false)), (String ((Ascii (true, false, true, false,
-    false, false, true, false)), (String ((Ascii (false, true, true, false,
-    false, true, true, false)), (String ((Ascii (false, true, true, false,
-    false, true, true, false)), (String ((Ascii (true, false, true, false,
-    false, true, true, false)), (String ((Ascii (true, true, false, false,
-    false, true, true, false)), (String ((Ascii (false, false, true, false,
-    true, true, true, false)), (String ((Ascii (true, false, false, true,
-    false, true, true, false)), (String ((Ascii (false, true, true, false,
-    true, true, true, false)), (String ((Ascii (true, false, true, false,
-    false, true, true, false)), (String ((Ascii (true, false, true, false,
-    false, false, true, false)), (String ((Ascii (false, true, true, true,
-    false, true, true, false)), (String ((Ascii (false, false, true, false,
-    true, true, true, false)), (String ((Ascii (false, true, false, false,
-    true, true, true, false)), (String ((Ascii (true, false, false, true,
-    true, true, true, false)), (String ((Ascii (false, false, true, false,
-    false, false, true, false)), (String ((Ascii (true, false, false, false,
-    false, true, true, false)), (String ((Ascii (false, false, true, false,
-    true, true, true, false)), (String ((Ascii (true, false, true, false,
-    false, true, true, false)), (String ((Ascii (false, true, true, false,
-    false, false, true, false)), (String ((Ascii (true, false, false, true,
-    false, true, true, false)), (String ((Ascii (true, false, true, false,
-    false, true, true, false)), (String ((Ascii (false, false, true, true,
-    false, true, true, false)), (String ((Ascii (false, false, true, false,
-    false, true, true, false)),
-    EmptyString)))))))))))))))))))))))))))))))))))))))))))))))))))))))))))))))))))))),
-    (String ((Ascii (false, true, false, false, true, true, false, false)),
-    (String ((Ascii (true, true, true, false, true, true, false, false)),
-    (String ((Ascii (false, true, true, false, false, true, true, false)),
-    (String ((Ascii (true, false, false, false, true, true, false, false)),
-    (String ((Ascii (true, true, true, false, true, true, false, false)),
-    (String ((Ascii (false, true, false, false, false, true, true, false)),
-    (String ((Ascii (false, true, true, false, true, true, false, false)),
-    (String ((Ascii (true, true, true, false, true, true, false, false)),
-    (String ((Ascii (true, true, true, false, true, true, false, false)),
-    (String ((Ascii (false, false, true, false, false, true, true, false)),
-    (String ((Ascii (false, true, false, false, false, true, true, false)),
-    (String ((Ascii (false, false, false, true, true, true, false, false)),
-    EmptyString)))))))))))))))))))))))))) :: ((SAlpha ((String ((Ascii (true,
-    true, false, false, true, false, true, false)), (String ((Ascii (true,
-    false, true, false, false, true, true, false)), (String ((Ascii (false,
-    false, true, false, true, true, true, false)), (String ((Ascii (false,
-    false, true, false, true, true, true, false)), (String ((Ascii (false,
-    false, true, true, false, true, true, false)), (String ((Ascii (true,
-    false, true, false, false, true, true, false)), (String ((Ascii (true,
-    false, true, true, false, true, true, false)), (String ((Ascii (true,
-    false, true, false, false, true, true, false)), (String ((Ascii (false,
-    true, true, true, false, true, true, false)), (String ((Ascii (false,
-    false, true, false, true, true, true, false)), (String ((Ascii (false,
-    false, true, false, false, false, true, false)), (String ((Ascii (true,
-    false, false, false, false, true, true, false)), (String ((Ascii (false,
-    false, true, false, true, true, true, false)), (String ((Ascii (true,
-    false, true, false, false, true, true, false)),
-    EmptyString)))))))))))))))))))))))))))), (S (S (S O))))) :: ((SItoa
-    (String ((Ascii (true, true, true, true, false, false, true, false)),
-    (String ((Ascii (false, true, false, false, true, true, true, false)),
-    (String ((Ascii (true, false, false, true, false, true, true, false)),
-    (String ((Ascii (true, true, true, false, false, true, true, false)),
-    (String ((Ascii (true, false, false, true, false, true, true, false)),
-    (String ((Ascii (false, true, true, true, false, true, true, false)),
-    (String ((Ascii (true, false, false, false, false, true, true, false)),
-    (String ((Ascii (false, false, true, false, true, true, true, false)),
-    (String ((Ascii (true, true, true, true, false, true, true, false)),
-    (String ((Ascii (false, true, false, false, true, true, true, false)),
-    (String ((Ascii (true, true, false, false, true, false, true, false)),
-    (String ((Ascii (false, false, true, false, true, true, true, false)),
-    (String ((Ascii (true, false, false, false, false, true, true, false)),
-    (String ((Ascii (false, false, true, false, true, true, true, false)),
-    (String ((Ascii (true, false, true, false, true, true, true, false)),
-    (String ((Ascii (true, true, false, false, true, true, true, false)),
-    (String ((Ascii (true, true, false, false, false, false, true, false)),
-    (String ((Ascii (true, true, true, true, false, true, true, false)),
-    (String ((Ascii (false, false, true, false, false, true, true, false)),
-    (String ((Ascii (true, false, true, false, false, true, true, false)),
-    EmptyString))))))))))))))))))))))))))))))))))))))))) :: ((SStr ((String
-    ((Ascii (true, true, true, true, false, false, true, false)), (String
-    ((Ascii (false, false, true, false, false, false, true, false)), (String
-    ((Ascii (false, true, true, false, false, false, true, false)), (String
-    ((Ascii (true, false, false, true, false, false, true, false)), (String
-    ((Ascii (true, false, false, true, false, false, true, false)), (String
-    ((Ascii (false, false, true, false, false, true, true, false)), (String
-    ((Ascii (true, false, true, false, false, true, true, false)), (String
-    ((Ascii (false, true, true, true, false, true, true, false)), (String
-    ((Ascii (false, false, true, false, true, true, true, false)), (String
-    ((Ascii (true, false, false, true, false, true, true, false)), (String
-    ((Ascii (false, true, true, false, false, true, true, false)), (String
-    ((Ascii (true, false, false, true, false, true, true, false)), (String
-    ((Ascii (true, true, false, false, false, true, true, false)), (String
-    ((Ascii (true, false, false, false, false, true, true, false)), (String
-    ((Ascii (false, false, true, false, true, true, true, false)), (String
-    ((Ascii (true, false, false, true, false, true, true, false)), (String
-    ((Ascii (true, true, true, true, false, true, true, false)), (String
-    ((Ascii (false, true, true, true, false, true, true, false)),
-    EmptyString)))))))))))))))))))))))))))))))))))), (S (S (S (S (S (S (S (S
-    O)))))))))) :: ((SNum ((String ((Ascii (false, true, false, false, false,
-    false, true, false)), (String ((Ascii (true, false, false, false, false,
-    true, true, false)), (String ((Ascii (false, false, true, false, true,
-    true, true, false)), (String ((Ascii (true, true, false, false, false,
-    true, true, false)), (String ((Ascii (false, false, false, true, false,
-    true, true, false)), (String ((Ascii (false, true, true, true, false,
-    false, true, false)), (String ((Ascii (true, false, true, false, true,
-    true, true, false)), (String ((Ascii (true, false, true, true, false,
-    true, true, false)), (String ((Ascii (false, true, false, false, false,
-    true, true, false)), (String ((Ascii (true, false, true, false, false,
-    true, true, false)), (String ((Ascii (false, true, false, false, true,
-    true, true, false)), EmptyString)))))))))))))))))))))), (S (S (S (S (S (S
-    (S O))))))))) :: []))))))))))))); l_cuts =
-    ((mkcut O (S O) EmptyString []) :: ((mkcut (S O) (S (S (S (S O))))
-                                          (String ((Ascii (true, true, false,
-                                          false, true, false, true, false)),
-                                          (String ((Ascii (true, false, true,
-                                          false, false, true, true, false)),
-                                          (String ((Ascii (false, true,
-                                          false, false, true, true, true,
-                                          false)), (String ((Ascii (false,
-                                          true, true, false, true, true,
-                                          true, false)), (String ((Ascii
-                                          (true, false, false, true, false,
-                                          true, true, false)), (String
-                                          ((Ascii (true, true, false, false,
-                                          false, true, true, false)), (String
-                                          ((Ascii (true, false, true, false,
-                                          false, true, true, false)), (String
-                                          ((Ascii (true, true, false, false,
-                                          false, false, true, false)),
-                                          (String ((Ascii (false, false,
-                                          true, true, false, true, true,
-                                          false)), (String ((Ascii (true,
-                                          false, false, false, false, true,
-                                          true, false)), (String ((Ascii
-                                          (true, true, false, false, true,
-                                          true, true, false)), (String
-                                          ((Ascii (true, true, false, false,
-                                          true, true, true, false)), (String
-                                          ((Ascii (true, true, false, false,
-                                          false, false, true, false)),
-                                          (String ((Ascii (true, true, true,
-                                          true, false, true, true, false)),
-                                          (String ((Ascii (false, false,
-                                          true, false, false, true, true,
-                                          false)), (String ((Ascii (true,
-                                          false, true, false, false, true,
-                                          true, false)),
-                                          EmptyString))))))))))))))))))))))))))))))))
-                                          ((String ((Ascii (false, false,
-                                          false, false, true, true, true,
-                                          false)), (String ((Ascii (true,
-                                          false, false, false, false, true,
-                                          true, false)), (String ((Ascii
-                                          (false, true, false, false, true,
-                                          true, true, false)), (String
-                                          ((Ascii (true, true, false, false,
-                                          true, true, true, false)), (String
-                                          ((Ascii (true, false, true, false,
-                                          false, true, true, false)), (String
-                                          ((Ascii (false, true, true, true,
-                                          false, false, true, false)),
-                                          (String ((Ascii (true, false, true,
-                                          false, true, true, true, false)),
-                                          (String ((Ascii (true, false, true,
-                                          true, false, true, true, false)),
-                                          (String ((Ascii (false, true, true,
-                                          false, false, false, true, false)),
-                                          (String ((Ascii (true, false,
-                                          false, true, false, true, true,
-                                          false)), (String ((Ascii (true,
-                                          false, true, false, false, true,
-                                          true, false)), (String ((Ascii
-                                          (false, false, true, true, false,
-                                          true, true, false)), (String
-                                          ((Ascii (false, false, true, false,
-                                          false, true, true, false)),
-                                          EmptyString)))))))))))))))))))))))))) :: [])) :: (
-    (mkcut (S (S (S (S O)))) (S (S (S (S (S (S (S (S (S (S (S (S (S (S (S (S
-      (S (S (S (S O)))))))))))))))))))) (String ((Ascii (true, true, false,
-      false, false, false, true, false)), (String ((Ascii (true, true, true,
-      true, false, true, true, false)), (String ((Ascii (true, false, true,
-      true, false, true, true, false)), (String ((Ascii (false, false, false,
-      false, true, true, true, false)), (String ((Ascii (true, false, false,
-      false, false, true, true, false)), (String ((Ascii (false, true, true,
-      true, false, true, true, false)), (String ((Ascii (true, false, false,
-      true, true, true, true, false)), (String ((Ascii (false, true, true,
-      true, false, false, true, false)), (String ((Ascii (true, false, false,
-      false, false, true, true, false)), (String ((Ascii (true, false, true,
-      true, false, true, true, false)), (String ((Ascii (true, false, true,
-      false, false, true, true, false)), EmptyString))))))))))))))))))))))
-      ((String ((Ascii (false, false, false, false, true, true, true,
-      false)), (String ((Ascii (true, false, false, false, false, true, true,
-      false)), (String ((Ascii (false, true, false, false, true, true, true,
-      false)), (String ((Ascii (true, true, false, false, true, true, true,
-      false)), (String ((Ascii (true, false, true, false, false, true, true,
-      false)), (String ((Ascii (true, true, false, false, true, false, true,
-      false)), (String ((Ascii (false, false, true, false, true, true, true,
-      false)), (String ((Ascii (false, true, false, false, true, true, true,
-      false)), (String ((Ascii (true, false, false, true, false, true, true,
-      false)), (String ((Ascii (false, true, true, true, false, true, true,
-      false)), (String ((Ascii (true, true, true, false, false, true, true,
-      false)), (String ((Ascii (false, true, true, false, false, false, true,
-      false)), (String ((Ascii (true, false, false, true, false, true, true,
-      false)), (String ((Ascii (true, false, true, false, false, true, true,
-      false)), (String ((Ascii (false, false, true, true, false, true, true,
-      false)), (String ((Ascii (false, false, true, false, false, true, true,
-      false)), (String ((Ascii (true, true, true, false, true, false, true,
-      false)), (String ((Ascii (true, false, false, true, false, true, true,
-      false)), (String ((Ascii (false, false, true, false, true, true, true,
-      false)), (String ((Ascii (false, false, false, true, false, true, true,
-      false)), (String ((Ascii (true, true, true, true, false, false, true,
-      false)), (String ((Ascii (false, false, false, false, true, true, true,
-      false)), (String ((Ascii (false, false, true, false, true, true, true,
-      false)), (String ((Ascii (true, true, false, false, true, true, true,
-      false)),
-      EmptyString)))))))))))))))))))))))))))))))))))))))))))))))) :: [])) :: (
-    (mkcut (S (S (S (S (S (S (S (S (S (S (S (S (S (S (S (S (S (S (S (S
-      O)))))))))))))))))))) (S (S (S (S (S (S (S (S (S (S (S (S (S (S (S (S
-      (S (S (S (S (S (S (S (S (S (S (S (S (S (S (S (S (S (S (S (S (S (S (S (S
-      O)))))))))))))))))))))))))))))))))))))))) (String ((Ascii (true, true,
-      false, false, false, false, true, false)), (String ((Ascii (true, true,
-      true, true, false, true, true, false)), (String ((Ascii (true, false,
-      true, true, false, true, true, false)), (String ((Ascii (false, false,
-      false, false, true, true, true, false)), (String ((Ascii (true, false,
-      false, false, false, true, true, false)), (String ((Ascii (false, true,
-      true, true, false, true, true, false)), (String ((Ascii (true, false,
-      false, true, true, true, true, false)), (String ((Ascii (false, false,
-      true, false, false, false, true, false)), (String ((Ascii (true, false,
-      false, true, false, true, true, false)), (String ((Ascii (true, true,
-      false, false, true, true, true, false)), (String ((Ascii (true, true,
-      false, false, false, true, true, false)), (String ((Ascii (false, true,
-      false, false, true, true, true, false)), (String ((Ascii (true, false,
-      true, false, false, true, true, false)), (String ((Ascii (false, false,
-      true, false, true, true, true, false)), (String ((Ascii (true, false,
-      false, true, false, true, true, false)), (String ((Ascii (true, true,
-      true, true, false, true, true, false)), (String ((Ascii (false, true,
-      true, true, false, true, true, false)), (String ((Ascii (true, false,
-      false, false, false, true, true, false)), (String ((Ascii (false, true,
-      false, false, true, true, true, false)), (String ((Ascii (true, false,
-      false, true, true, true, true, false)), (String ((Ascii (false, false,
-      true, false, false, false, true, false)), (String ((Ascii (true, false,
-      false, false, false, true, true, false)), (String ((Ascii (false,
-      false, true, false, true, true, true, false)), (String ((Ascii (true,
-      false, false, false, false, true, true, false)),
-      EmptyString)))))))))))))))))))))))))))))))))))))))))))))))) ((String
-      ((Ascii (false, false, false, false, true, true, true, false)), (String
-      ((Ascii (true, false, false, false, false, true, true, false)), (String
-      ((Ascii (false, true, false, false, true, true, true, false)), (String
-      ((Ascii (true, true, false, false, true, true, true, false)), (String
-      ((Ascii (true, false, true, false, false, true, true, false)), (String
-      ((Ascii (true, true, false, false, true, false, true, false)), (String
-      ((Ascii (false, false, true, false, true, true, true, false)), (String
-      ((Ascii (false, true, false, false, true, true, true, false)), (String
-      ((Ascii (true, false, false, true, false, true, true, false)), (String
-      ((Ascii (false, true, true, true, false, true, true, false)), (String
-      ((Ascii (true, true, true, false, false, true, true, false)), (String
-      ((Ascii (false, true, true, false, false, false, true, false)), (String
-      ((Ascii (true, false, false, true, false, true, true, false)), (String
-      ((Ascii (true, false, true, false, false, true, true, false)), (String
-      ((Ascii (false, false, true, true, false, true, true, false)), (String
-      ((Ascii (false, false, true, false, false, true, true, false)), (String
-      ((Ascii (true, true, true, false, true, false, true, false)), (String
-      ((Ascii (true, false, false, true, false, true, true, false)), (String
-      ((Ascii (false, false, true, false, true, true, true, false)), (String
-      ((Ascii (false, false, false, true, false, true, true, false)), (String
-      ((Ascii (true, true, true, true, false, false, true, false)), (String
-      ((Ascii (false, false, false, false, true, true, true, false)), (String
-      ((Ascii (false, false, true, false, true, true, true, false)), (String
-      ((Ascii (true, true, false, false, true, true, true, false)),
-      EmptyString)))))))))))))))))))))))))))))))))))))))))))))))) :: [])) :: (
-    (mkcut (S (S (S (S (S (S (S (S (S (S (S (S (S (S (S (S (S (S (S (S (S (S
-      (S (S (S (S (S (S (S (S (S (S (S (S (S (S (S (S (S (S
-      O)))))))))))))))))))))))))))))))))))))))) (S (S (S (S (S (S (S (S (S (S
-      (S (S (S (S (S (S (S (S (S (S (S (S (S (S (S (S (S (S (S (S (S (S (S (S
-      (S (S (S (S (S (S (S (S (S (S (S (S (S (S (S (S
-      O)))))))))))))))))))))))))))))))))))))))))))))))))) (String ((Ascii
-      (true, true, false, false, false, false, true, false)), (String ((Ascii
-      (true, true, true, true, false, true, true, false)), (String ((Ascii
-      (true, false, true, true, false, true, true, false)), (String ((Ascii
-      (false, false, false, false, true, true, true, false)), (String ((Ascii
-      (true, false, false, false, false, true, true, false)), (String ((Ascii
-      (false, true, true, true, false, true, true, false)), (String ((Ascii
-      (true, false, false, true, true, true, true, false)), (String ((Ascii
-      (true, false, false, true, false, false, true, false)), (String ((Ascii
-      (false, false, true, false, false, true, true, false)), (String ((Ascii
-      (true, false, true, false, false, true, true, false)), (String ((Ascii
-      (false, true, true, true, false, true, true, false)), (String ((Ascii
-      (false, false, true, false, true, true, true, false)), (String ((Ascii
-      (true, false, false, true, false, true, true, false)), (String ((Ascii
-      (false, true, true, false, false, true, true, false)), (String ((Ascii
-      (true, false, false, true, false, true, true, false)), (String ((Ascii
-      (true, true, false, false, false, true, true, false)), (String ((Ascii
-      (true, false, false, false, false, true, true, false)), (String ((Ascii
-      (false, false, true, false, true, true, true, false)), (String ((Ascii
-      (true, false, false, true, false, true, true, false)), (String ((Ascii
-      (true, true, true, true, false, true, true, false)), (String ((Ascii
-      (false, true, true, true, false, true, true, false)),
-      EmptyString)))))))))))))))))))))))))))))))))))))))))) ((String ((Ascii
-      (false, false, false, false, true, true, true, false)), (String ((Ascii
-      (true, false, false, false, false, true, true, false)), (String ((Ascii
-      (false, true, false, false, true, true, true, false)), (String ((Ascii
-      (true, true, false, false, true, true, true, false)), (String ((Ascii
-      (true, false, true, false, false, true, true, false)), (String ((Ascii
-      (true, true, false, false, true, false, true, false)), (String ((Ascii
-      (false, false, true, false, true, true, true, false)), (String ((Ascii
-      (false, true, false, false, true, true, true, false)), (String ((Ascii
-      (true, false, false, true, false, true, true, false)), (String ((Ascii
-      (false, true, true, true, false, true, true, false)), (String ((Ascii
-      (true, true, true, false, false, true, true, false)), (String ((Ascii
-      (false, true, true, false, false, false, true, false)), (String ((Ascii
-      (true, false, false, true, false, true, true, false)), (String ((Ascii
-      (true, false, true, false, false, true, true, false)), (String ((Ascii
-      (false, false, true, true, false, true, true, false)), (String ((Ascii
-      (false, false, true, false, false, true, true, false)), (String ((Ascii
-      (true, true, true, false, true, false, true, false)), (String ((Ascii
-      (true, false, false, true, false, true, true, false)), (String ((Ascii
-      (false, false, true, false, true, true, true, false)), (String ((Ascii
-      (false, false, false, true, false, true, true, false)), (String ((Ascii
-      (true, true, true, true, false, false, true, false)), (String ((Ascii
-      (false, false, false, false, true, true, true, false)), (String ((Ascii
-      (false, false, true, false, true, true, true, false)), (String ((Ascii
-      (true, true, false, false, true, true, true, false)),
-      EmptyString)))))))))))))))))))))))))))))))))))))))))))))))) :: [])) :: (
-    (mkcut (S (S (S (S (S (S (S (S (S (S (S (S (S (S (S (S (S (S (S (S (S (S
-      (S (S (S (S (S (S (S (S (S (S (S (S (S (S (S (S (S (S (S (S (S (S (S (S
-      (S (S (S (S O)))))))))))))))))))))))))))))))))))))))))))))))))) (S (S
-      (S (S (S (S (S (S (S (S (S (S (S (S (S (S (S (S (S (S (S (S (S (S (S (S
-      (S (S (S (S (S (S (S (S (S (S (S (S (S (S (S (S (S (S (S (S (S (S (S (S
-      (S (S (S O))))))))))))))))))))))))))))))))))))))))))))))))))))) (String
-      ((Ascii (true, true, false, false, true, false, true, false)), (String
-      ((Ascii (false, false, true, false, true, true, true, false)), (String
-      ((Ascii (true, false, false, false, false, true, true, false)), (String
-      ((Ascii (false, true, true, true, false, true, true, false)), (String
-      ((Ascii (false, false, true, false, false, true, true, false)), (String
-      ((Ascii (true, false, false, false, false, true, true, false)), (String
-      ((Ascii (false, true, false, false, true, true, true, false)), (String
-      ((Ascii (false, false, true, false, false, true, true, false)), (String
-      ((Ascii (true, false, true, false, false, false, true, false)), (String
-      ((Ascii (false, true, true, true, false, true, true, false)), (String
-      ((Ascii (false, false, true, false, true, true, true, false)), (String
-      ((Ascii (false, true, false, false, true, true, true, false)), (String
-      ((Ascii (true, false, false, true, true, true, true, false)), (String
-      ((Ascii (true, true, false, false, false, false, true, false)), (String
-      ((Ascii (false, false, true, true, false, true, true, false)), (String
-      ((Ascii (true, false, false, false, false, true, true, false)), (String
-      ((Ascii (true, true, false, false, true, true, true, false)), (String
-      ((Ascii (true, true, false, false, true, true, true, false)), (String
-      ((Ascii (true, true, false, false, false, false, true, false)), (String
-      ((Ascii (true, true, true, true, false, true, true, false)), (String
-      ((Ascii (false, false, true, false, false, true, true, false)), (String
-      ((Ascii (true, false, true, false, false, true, true, false)),
-      EmptyString)))))))))))))))))))))))))))))))))))))))))))) []) :: (
-    (mkcut (S (S (S (S (S (S (S (S (S (S (S (S (S (S (S (S (S (S (S (S (S (S
-      (S (S (S (S (S (S (S (S (S (S (S (S (S (S (S (S (S (S (S (S (S (S (S (S
-      (S (S (S (S (S (S (S
-      O))))))))))))))))))))))))))))))))))))))))))))))))))))) (S (S (S (S (S
-      (S (S (S (S (S (S (S (S (S (S (S (S (S (S (S (S (S (S (S (S (S (S (S (S
-      (S (S (S (S (S (S (S (S (S (S (S (S (S (S (S (S (S (S (S (S (S (S (S (S
-      (S (S (S (S (S (S (S (S (S (S
-      O)))))))))))))))))))))))))))))))))))))))))))))))))))))))))))))))
-      (String ((Ascii (true, true, false, false, false, false, true, false)),
-      (String ((Ascii (true, true, true, true, false, true, true, false)),
-      (String ((Ascii (true, false, true, true, false, true, true, false)),
-      (String ((Ascii (false, false, false, false, true, true, true, false)),
-      (String ((Ascii (true, false, false, false, false, true, true, false)),
-      (String ((Ascii (false, true, true, true, false, true, true, false)),
-      (String ((Ascii (true, false, false, true, true, true, true, false)),
-      (String ((Ascii (true, false, true, false, false, false, true, false)),
-      (String ((Ascii (false, true, true, true, false, true, true, false)),
-      (String ((Ascii (false, false, true, false, true, true, true, false)),
-      (String ((Ascii (false, true, false, false, true, true, true, false)),
-      (String ((Ascii (true, false, false, true, true, true, true, false)),
-      (String ((Ascii (false, false, true, false, false, false, true,
-      false)), (String ((Ascii (true, false, true, false, false, true, true,
-      false)), (String ((Ascii (true, true, false, false, true, true, true,
-      false)), (String ((Ascii (true, true, false, false, false, true, true,
-      false)), (String ((Ascii (false, true, false, false, true, true, true,
-      false)), (String ((Ascii (true, false, false, true, false, true, true,
-      false)), (String ((Ascii (false, false, false, false, true, true, true,
-      false)), (String ((Ascii (false, false, true, false, true, true, true,
-      false)), (String ((Ascii (true, false, false, true, false, true, true,
-      false)), (String ((Ascii (true, true, true, true, false, true, true,
-      false)), (String ((Ascii (false, true, true, true, false, true, true,
-      false)), EmptyString))))))))))))))))))))))))))))))))))))))))))))))
-      ((String ((Ascii (false, false, false, false, true, true, true,
-      false)), (String ((Ascii (true, false, false, false, false, true, true,
-      false)), (String ((Ascii (false, true, false, false, true, true, true,
-      false)), (String ((Ascii (true, true, false, false, true, true, true,
-      false)), (String ((Ascii (true, false, true, false, false, true, true,
-      false)), (String ((Ascii (true, true, false, false, true, false, true,
-      false)), (String ((Ascii (false, false, true, false, true, true, true,
-      false)), (String ((Ascii (false, true, false, false, true, true, true,
-      false)), (String ((Ascii (true, false, false, true, false, true, true,
-      false)), (String ((Ascii (false, true, true, true, false, true, true,
-      false)), (String ((Ascii (true, true, true, false, false, true, true,
-      false)), (String ((Ascii (false, true, true, false, false, false, true,
-      false)), (String ((Ascii (true, false, false, true, false, true, true,
-      false)), (String ((Ascii (true, false, true, false, false, true, true,
-      false)), (String ((Ascii (false, false, true, true, false, true, true,
-      false)), (String ((Ascii (false, false, true, false, false, true, true,
-      false)), (String ((Ascii (true, true, true, false, true, false, true,
-      false)), (String ((Ascii (true, false, false, true, false, true, true,
-      false)), (String ((Ascii (false, false, true, false, true, true, true,
-      false)), (String ((Ascii (false, false, false, true, false, true, true,
-      false)), (String ((Ascii (true, true, true, true, false, false, true,
-      false)), (String ((Ascii (false, false, false, false, true, true, true,
-      false)), (String ((Ascii (false, false, true, false, true, true, true,
-      false)), (String ((Ascii (true, true, false, false, true, true, true,
-      false)),
-      EmptyString)))))))))))))))))))))))))))))))))))))))))))))))) :: [])) :: (
-    (mkcut (S (S (S (S (S (S (S (S (S (S (S (S (S (S (S (S (S (S (S (S (S (S
-      (S (S (S (S (S (S (S (S (S (S (S (S (S (S (S (S (S (S (S (S (S (S (S (S
-      (S (S (S (S (S (S (S (S (S (S (S (S (S (S (S (S (S
-      O))))))))))))))))))))))))))))))))))))))))))))))))))))))))))))))) (S (S
-      (S (S (S (S (S (S (S (S (S (S (S (S (S (S (S (S (S (S (S (S (S (S (S (S
-      (S (S (S (S (S (S (S (S (S (S (S (S (S (S (S (S (S (S (S (S (S (S (S (S
-      (S (S (S (S (S (S (S (S (S (S (S (S (S (S (S (S (S (S (S
-      O)))))))))))))))))))))))))))))))))))))))))))))))))))))))))))))))))))))
-      (String ((Ascii (true, true, false, false, false, false, true, false)),
-      (String ((Ascii (true, true, true, true, false, true, true, false)),
-      (String ((Ascii (true, false, true, true, false, true, true, false)),
-      (String ((Ascii (false, false, false, false, true, true, true, false)),
-      (String ((Ascii (true, false, false, false, false, true, true, false)),
-      (String ((Ascii (false, true, true, true, false, true, true, false)),
-      (String ((Ascii (true, false, false, true, true, true, true, false)),
-      (String ((Ascii (false, false, true, false, false, false, true,
-      false)), (String ((Ascii (true, false, true, false, false, true, true,
-      false)), (String ((Ascii (true, true, false, false, true, true, true,
-      false)), (String ((Ascii (true, true, false, false, false, true, true,
-      false)), (String ((Ascii (false, true, false, false, true, true, true,
-      false)), (String ((Ascii (true, false, false, true, false, true, true,
-      false)), (String ((Ascii (false, false, false, false, true, true, true,
-      false)), (String ((Ascii (false, false, true, false, true, true, true,
-      false)), (String ((Ascii (true, false, false, true, false, true, true,
-      false)), (String ((Ascii (false, true, true, false, true, true, true,
-      false)), (String ((Ascii (true, false, true, false, false, true, true,
-      false)), (String ((Ascii (false, false, true, false, false, false,
-      true, false)), (String ((Ascii (true, false, false, false, false, true,
-      true, false)), (String ((Ascii (false, false, true, false, true, true,
-      true, false)), (String ((Ascii (true, false, true, false, false, true,
-      true, false)), EmptyString))))))))))))))))))))))))))))))))))))))))))))
-      ((String ((Ascii (false, false, false, false, true, true, true,
-      false)), (String ((Ascii (true, false, false, false, false, true, true,
-      false)), (String ((Ascii (false, true, false, false, true, true, true,
-      false)), (String ((Ascii (true, true, false, false, true, true, true,
-      false)), (String ((Ascii (true, false, true, false, false, true, true,
-      false)), (String ((Ascii (true, true, false, false, true, false, true,
-      false)), (String ((Ascii (false, false, true, false, true, true, true,
-      false)), (String ((Ascii (false, true, false, false, true, true, true,
-      false)), (String ((Ascii (true, false, false, true, false, true, true,
-      false)), (String ((Ascii (false, true, true, true, false, true, true,
-      false)), (String ((Ascii (true, true, true, false, false, true, true,
-      false)), (String ((Ascii (false, true, true, false, false, false, true,
-      false)), (String ((Ascii (true, false, false, true, false, true, true,
-      false)), (String ((Ascii (true, false, true, false, false, true, true,
-      false)), (String ((Ascii (false, false, true, true, false, true, true,
-      false)), (String ((Ascii (false, false, true, false, false, true, true,
-      false)), (String ((Ascii (true, true, true, false, true, false, true,
-      false)), (String ((Ascii (true, false, false, true, false, true, true,
-      false)), (String ((Ascii (false, false, true, false, true, true, true,
-      false)), (String ((Ascii (false, false, false, true, false, true, true,
-      false)), (String ((Ascii (true, true, true, true, false, false, true,
-      false)), (String ((Ascii (false, false, false, false, true, true, true,
-      false)), (String ((Ascii (false, false, true, false, true, true, true,
-      false)), (String ((Ascii (true, true, false, false, true, true, true,
-      false)),
-      EmptyString)))))))))))))))))))))))))))))))))))))))))))))))) :: [])) :: (
-    (mkcut (S (S (S (S (S (S (S (S (S (S (S (S (S (S (S (S (S (S (S (S (S (S
-      (S (S (S (S (S (S (S (S (S (S (S (S (S (S (S (S (S (S (S (S (S (S (S (S
-      (S (S (S (S (S (S (S (S (S (S (S (S (S (S (S (S (S (S (S (S (S (S (S
-      O)))))))))))))))))))))))))))))))))))))))))))))))))))))))))))))))))))))
-      (S (S (S (S (S (S (S (S (S (S (S (S (S (S (S (S (S (S (S (S (S (S (S (S
-      (S (S (S (S (S (S (S (S (S (S (S (S (S (S (S (S (S (S (S (S (S (S (S (S
-      (S (S (S (S (S (S (S (S (S (S (S (S (S (S (S (S (S (S (S (S (S (S (S (S
-      (S (S (S
-      O)))))))))))))))))))))))))))))))))))))))))))))))))))))))))))))))))))))))))))
-      (String ((Ascii (true, false, true, false, false, false, true, false)),
-      (String ((Ascii (false, true, true, false, false, true, true, false)),
-      (String ((Ascii (false, true, true, false, false, true, true, false)),
-      (String ((Ascii (true, false, true, false, false, true, true, false)),
-      (String ((Ascii (true, true, false, false, false, true, true, false)),
-      (String ((Ascii (false, false, true, false, true, true, true, false)),
-      (String ((Ascii (true, false, false, true, false, true, true, false)),
-      (String ((Ascii (false, true, true, false, true, true, true, false)),
-      (String ((Ascii (true, false, true, false, false, true, true, false)),
-      (String ((Ascii (true, false, true, false, false, false, true, false)),
-      (String ((Ascii (false, true, true, true, false, true, true, false)),
-      (String ((Ascii (false, false, true, false, true, true, true, false)),
-      (String ((Ascii (false, true, false, false, true, true, true, false)),
-      (String ((Ascii (true, false, false, true, true, true, true, false)),
-      (String ((Ascii (false, false, true, false, false, false, true,
-      false)), (String ((Ascii (true, false, false, false, false, true, true,
-      false)), (String ((Ascii (false, false, true, false, true, true, true,
-      false)), (String ((Ascii (true, false, true, false, false, true, true,
-      false)), EmptyString)))))))))))))))))))))))))))))))))))) ((String
-      ((Ascii (false, true, true, false, true, true, true, false)), (String
-      ((Ascii (true, false, false, false, false, true, true, false)), (String
-      ((Ascii (false, false, true, true, false, true, true, false)), (String
-      ((Ascii (true, false, false, true, false, true, true, false)), (String
-      ((Ascii (false, false, true, false, false, true, true, false)), (String
-      ((Ascii (true, false, false, false, false, true, true, false)), (String
-      ((Ascii (false, false, true, false, true, true, true, false)), (String
-      ((Ascii (true, false, true, false, false, true, true, false)), (String
-      ((Ascii (true, true, false, false, true, false, true, false)), (String
-      ((Ascii (true, false, false, true, false, true, true, false)), (String
-      ((Ascii (true, false, true, true, false, true, true, false)), (String
-      ((Ascii (false, false, false, false, true, true, true, false)), (String
-      ((Ascii (false, false, true, true, false, true, true, false)), (String
-      ((Ascii (true, false, true, false, false, true, true, false)), (String
-      ((Ascii (false, false, true, false, false, false, true, false)),
-      (String ((Ascii (true, false, false, false, false, true, true, false)),
-      (String ((Ascii (false, false, true, false, true, true, true, false)),
-      (String ((Ascii (true, false, true, false, false, true, true, false)),
-      EmptyString)))))))))))))))))))))))))))))))))))) :: [])) :: ((mkcut (S
-                                                                    (S (S (S
-                                                                    (S (S (S
-                                                                    (S (S (S
-                                                                    (S (S (S
-                                                                    (S (S (S
-                                                                    (S (S (S
-                                                                    (S (S (S
-                                                                    (S (S (S
-                                                                    (S (S (S
-                                                                    (S (S (S
-                                                                    (S (S (S
-                                                                    (S (S (S
-                                                                    (S (S (S
-                                                                    (S (S (S
-                                                                    (S (S (S
-                                                                    (S (S (S
-                                                                    (S (S (S
-                                                                    (S (S (S
-                                                                    (S (S (S
-                                                                    (S (S (S
-                                                                    (S (S (S
-                                                                    (S (S (S
-                                                                    (S (S (S
-                                                                    (S (S (S
-                                                                    (S (S
-                                                                    O)))))))))))))))))))))))))))))))))))))))))))))))))))))))))))))))))))))))))))
-                                                                    (S (S (S
-                                                                    (S (S (S
-                                                                    (S (S (S
-                                                                    (S (S (S
-                                                                    (S (S (S
-                                                                    (S (S (S
-                                                                    (S (S (S
-                                                                    (S (S (S
-                                                                    (S (S (S
-                                                                    (S (S (S
-                                                                    (S (S (S
-                                                                    (S (S (S
-                                                                    (S (S (S
-                                                                    (S (S (S
-                                                                    (S (S (S
-                                                                    (S (S (S
-                                                                    (S (S (S
-                                                                    (S (S (S
-                                                                    (S (S (S
-                                                                    (S (S (S
-                                                                    (S (S (S
-                                                                    (S (S (S
-                                                                    (S (S (S
-                                                                    (S (S (S
-                                                                    (S (S (S
-                                                                    (S (S (S
-                                                                    O))))))))))))))))))))))))))))))))))))))))))))))))))))))))))))))))))))))))))))))
-                                                                    (String
-                                                                    ((Ascii
-                                                                    (true,
-                                                                    true,
-                                                                    false,
-                                                                    false,
-                                                                    true,
-                                                                    false,
-                                                                    true,
-                                                                    false)),
-                                                                    (String
-                                                                    ((Ascii
-                                                                    (true,
-                                                                    false,
-                                                                    true,
-                                                                    false,
-                                                                    false,
-                                                                    true,
-                                                                    true,
-                                                                    false)),
-                                                                    (String
-                                                                    ((Ascii
-                                                                    (false,
-                                                                    false,
-                                                                    true,
-                                                                    false,
-                                                                    true,
-                                                                    true,
-                                                                    true,
-                                                                    false)),
-                                                                    (String
-                                                                    ((Ascii
-                                                                    (false,
-                                                                    false,
-                                                                    true,
-                                                                    false,
-                                                                    true,
-                                                                    true,
-                                                                    true,
-                                                                    false)),
-                                                                    (String
-                                                                    ((Ascii
-                                                                    (false,
-                                                                    false,
-                                                                    true,
-                                                                    true,
-                                                                    false,
-                                                                    true,
-                                                                    true,
-                                                                    false)),
-                                                                    (String
-                                                                    ((Ascii
-                                                                    (true,
-                                                                    false,
-                                                                    true,
-                                                                    false,
-                                                                    false,
-                                                                    true,
-                                                                    true,
-                                                                    false)),
-                                                                    (String
-                                                                    ((Ascii
-                                                                    (true,
-                                                                    false,
-                                                                    true,
-                                                                    true,
-                                                                    false,
-                                                                    true,
-                                                                    true,
-                                                                    false)),
-                                                                    (String
-                                                                    ((Ascii
-                                                                    (true,
-                                                                    false,
-                                                                    true,
-                                                                    false,
-                                                                    false,
-                                                                    true,
-                                                                    true,
-                                                                    false)),
-                                                                    (String
-                                                                    ((Ascii
-                                                                    (false,
-                                                                    true,
-                                                                    true,
-                                                                    true,
-                                                                    false,
-                                                                    true,
-                                                                    true,
-                                                                    false)),
-                                                                    (String
-                                                                    ((Ascii
-                                                                    (false,
-                                                                    false,
-                                                                    true,
-                                                                    false,
-                                                                    true,
-                                                                    true,
-                                                                    true,
-                                                                    false)),
-                                                                    (String
-                                                                    ((Ascii
-                                                                    (false,
-                                                                    false,
-                                                                    true,
-                                                                    false,
-                                                                    false,
-                                                                    false,
-                                                                    true,
-                                                                    false)),
-                                                                    (String
-                                                                    ((Ascii
-                                                                    (true,
-                                                                    false,
-                                                                    false,
-                                                                    false,
-                                                                    false,
-                                                                    true,
-                                                                    true,
-                                                                    false)),
-                                                                    (String
-                                                                    ((Ascii
-                                                                    (false,
-                                                                    false,
-                                                                    true,
-                                                                    false,
-                                                                    true,
-                                                                    true,
-                                                                    true,
-                                                                    false)),
-                                                                    (String
-                                                                    ((Ascii
-                                                                    (true,
-                                                                    false,
-                                                                    true,
-                                                                    false,
-                                                                    false,
-                                                                    true,
-                                                                    true,
-                                                                    false)),
-                                                                    EmptyString))))))))))))))))))))))))))))
-                                                                    ((String
-                                                                    ((Ascii
-                                                                    (false,
-                                                                    true,
-                                                                    true,
-                                                                    false,
-                                                                    true,
-                                                                    true,
-                                                                    true,
-                                                                    false)),
-                                                                    (String
-                                                                    ((Ascii
-                                                                    (true,
-                                                                    false,
-                                                                    false,
-                                                                    false,
-                                                                    false,
-                                                                    true,
-                                                                    true,
-                                                                    false)),
-                                                                    (String
-                                                                    ((Ascii
-                                                                    (false,
-                                                                    false,
-                                                                    true,
-                                                                    true,
-                                                                    false,
-                                                                    true,
-                                                                    true,
-                                                                    false)),
-                                                                    (String
-                                                                    ((Ascii
-                                                                    (true,
-                                                                    false,
-                                                                    false,
-                                                                    true,
-                                                                    false,
-                                                                    true,
-                                                                    true,
-                                                                    false)),
-                                                                    (String
-                                                                    ((Ascii
-                                                                    (false,
-                                                                    false,
-                                                                    true,
-                                                                    false,
-                                                                    false,
-                                                                    true,
-                                                                    true,
-                                                                    false)),
-                                                                    (String
-                                                                    ((Ascii
-                                                                    (true,
-                                                                    false,
-                                                                    false,
-                                                                    false,
-                                                                    false,
-                                                                    true,
-                                                                    true,
-                                                                    false)),
-                                                                    (String
-                                                                    ((Ascii
-                                                                    (false,
-                                                                    false,
-                                                                    true,
-                                                                    false,
-                                                                    true,
-                                                                    true,
-                                                                    true,
-                                                                    false)),
-                                                                    (String
-                                                                    ((Ascii
-                                                                    (true,
-                                                                    false,
-                                                                    true,
-                                                                    false,
-                                                                    false,
-                                                                    true,
-                                                                    true,
-                                                                    false)),
-                                                                    (String
-                                                                    ((Ascii
-                                                                    (true,
-                                                                    true,
-                                                                    false,
-                                                                    false,
-                                                                    true,
-                                                                    false,
-                                                                    true,
-                                                                    false)),
-                                                                    (String
-                                                                    ((Ascii
-                                                                    (true,
-                                                                    false,
-                                                                    true,
-                                                                    false,
-                                                                    false,
-                                                                    true,
-                                                                    true,
-                                                                    false)),
-                                                                    (String
-                                                                    ((Ascii
-                                                                    (false,
-                                                                    false,
-                                                                    true,
-                                                                    false,
-                                                                    true,
-                                                                    true,
-                                                                    true,
-                                                                    false)),
-                                                                    (String
-                                                                    ((Ascii
-                                                                    (false,
-                                                                    false,
-                                                                    true,
-                                                                    false,
-                                                                    true,
-                                                                    true,
-                                                                    true,
-                                                                    false)),
-                                                                    (String
-                                                                    ((Ascii
-                                                                    (false,
-                                                                    false,
-                                                                    true,
-                                                                    true,
-                                                                    false,
-                                                                    true,
-                                                                    true,
-                                                                    false)),
-                                                                    (String
-                                                                    ((Ascii
-                                                                    (true,
-                                                                    false,
-                                                                    true,
-                                                                    false,
-                                                                    false,
-                                                                    true,
-                                                                    true,
-                                                                    false)),
-                                                                    (String
-                                                                    ((Ascii
-                                                                    (true,
-                                                                    false,
-                                                                    true,
-                                                                    true,
-                                                                    false,
-                                                                    true,
-                                                                    true,
-                                                                    false)),
-                                                                    (String
-                                                                    ((Ascii
-                                                                    (true,
-                                                                    false,
-                                                                    true,
-                                                                    false,
-                                                                    false,
-                                                                    true,
-                                                                    true,
-                                                                    false)),
-                                                                    (String
-                                                                    ((Ascii
-                                                                    (false,
-                                                                    true,
-                                                                    true,
-                                                                    true,
-                                                                    false,
-                                                                    true,
-                                                                    true,
-                                                                    false)),
-                                                                    (String
-                                                                    ((Ascii
-                                                                    (false,
-                                                                    false,
-                                                                    true,
-                                                                    false,
-                                                                    true,
-                                                                    true,
-                                                                    true,
-                                                                    false)),
-                                                                    (String
-                                                                    ((Ascii
-                                                                    (false,
-                                                                    false,
-                                                                    true,
-                                                                    false,
-                                                                    false,
-                                                                    false,
-                                                                    true,
-                                                                    false)),
-                                                                    (String
-                                                                    ((Ascii
-                                                                    (true,
-                                                                    false,
-                                                                    false,
-                                                                    false,
-                                                                    false,
-                                                                    true,
-                                                                    true,
-                                                                    false)),
-                                                                    (String
-                                                                    ((Ascii
-                                                                    (false,
-                                                                    false,
-                                                                    true,
-                                                                    false,
-                                                                    true,
-                                                                    true,
-                                                                    true,
-                                                                    false)),
-                                                                    (String
-                                                                    ((Ascii
-                                                                    (true,
-                                                                    false,
-                                                                    true,
-                                                                    false,
-                                                                    false,
-                                                                    true,
-                                                                    true,
-                                                                    false)),
-                                                                    EmptyString)))))))))))))))))))))))))))))))))))))))))))) :: [])) :: (
-    (mkcut (S (S (S (S (S (S (S (S (S (S (S (S (S (S (S (S (S (S (S (S (S (S
-      (S (S (S (S (S (S (S (S (S (S (S (S (S (S (S (S (S (S (S (S (S (S (S (S
-      (S (S (S (S (S (S (S (S (S (S (S (S (S (S (S (S (S (S (S (S (S (S (S (S
-      (S (S (S (S (S (S (S (S
-      O))))))))))))))))))))))))))))))))))))))))))))))))))))))))))))))))))))))))))))))
-      (S (S (S (S (S (S (S (S (S (S (S (S (S (S (S (S (S (S (S (S (S (S (S (S
-      (S (S (S (S (S (S (S (S (S (S (S (S (S (S (S (S (S (S (S (S (S (S (S (S
-      (S (S (S (S (S (S (S (S (S (S (S (S (S (S (S (S (S (S (S (S (S (S (S (S
-      (S (S (S (S (S (S (S
-      O)))))))))))))))))))))))))))))))))))))))))))))))))))))))))))))))))))))))))))))))
-      (String ((Ascii (true, true, true, true, false, false, true, false)),
-      (String ((Ascii (false, true, false, false, true, true, true, false)),
-      (String ((Ascii (true, false, false, true, false, true, true, false)),
-      (String ((Ascii (true, true, true, false, false, true, true, false)),
-      (String ((Ascii (true, false, false, true, false, true, true, false)),
-      (String ((Ascii (false, true, true, true, false, true, true, false)),
-      (String ((Ascii (true, false, false, false, false, true, true, false)),
-      (String ((Ascii (false, false, true, false, true, true, true, false)),
-      (String ((Ascii (true, true, true, true, false, true, true, false)),
-      (String ((Ascii (false, true, false, false, true, true, true, false)),
-      (String ((Ascii (true, true, false, false, true, false, true, false)),
-      (String ((Ascii (false, false, true, false, true, true, true, false)),
-      (String ((Ascii (true, false, false, false, false, true, true, false)),
-      (String ((Ascii (false, false, true, false, true, true, true, false)),
-      (String ((Ascii (true, false, true, false, true, true, true, false)),
-      (String ((Ascii (true, true, false, false, true, true, true, false)),
-      (String ((Ascii (true, true, false, false, false, false, true, false)),
-      (String ((Ascii (true, true, true, true, false, true, true, false)),
-      (String ((Ascii (false, false, true, false, false, true, true, false)),
-      (String ((Ascii (true, false, true, false, false, true, true, false)),
-      EmptyString)))))))))))))))))))))))))))))))))))))))) ((String ((Ascii
-      (false, false, false, false, true, true, true, false)), (String ((Ascii
-      (true, false, false, false, false, true, true, false)), (String ((Ascii
-      (false, true, false, false, true, true, true, false)), (String ((Ascii
-      (true, true, false, false, true, true, true, false)), (String ((Ascii
-      (true, false, true, false, false, true, true, false)), (String ((Ascii
-      (false, true, true, true, false, false, true, false)), (String ((Ascii
-      (true, false, true, false, true, true, true, false)), (String ((Ascii
-      (true, false, true, true, false, true, true, false)), (String ((Ascii
-      (false, true, true, false, false, false, true, false)), (String ((Ascii
-      (true, false, false, true, false, true, true, false)), (String ((Ascii
-      (true, false, true, false, false, true, true, false)), (String ((Ascii
-      (false, false, true, true, false, true, true, false)), (String ((Ascii
-      (false, false, true, false, false, true, true, false)),
-      EmptyString)))))))))))))))))))))))))) :: [])) :: ((mkcut (S (S (S (S (S
-                                                          (S (S (S (S (S (S
-                                                          (S (S (S (S (S (S
-                                                          (S (S (S (S (S (S
-                                                          (S (S (S (S (S (S
-                                                          (S (S (S (S (S (S
-                                                          (S (S (S (S (S (S
-                                                          (S (S (S (S (S (S
-                                                          (S (S (S (S (S (S
-                                                          (S (S (S (S (S (S
-                                                          (S (S (S (S (S (S
-                                                          (S (S (S (S (S (S
-                                                          (S (S (S (S (S (S
-                                                          (S (S
-                                                          O)))))))))))))))))))))))))))))))))))))))))))))))))))))))))))))))))))))))))))))))
-                                                          (S (S (S (S (S (S
-                                                          (S (S (S (S (S (S
-                                                          (S (S (S (S (S (S
-                                                          (S (S (S (S (S (S
-                                                          (S (S (S (S (S (S
-                                                          (S (S (S (S (S (S
-                                                          (S (S (S (S (S (S
-                                                          (S (S (S (S (S (S
-                                                          (S (S (S (S (S (S
-                                                          (S (S (S (S (S (S
-                                                          (S (S (S (S (S (S
-                                                          (S (S (S (S (S (S
-                                                          (S (S (S (S (S (S
-                                                          (S (S (S (S (S (S
-                                                          (S (S (S
-                                                          O)))))))))))))))))))))))))))))))))))))))))))))))))))))))))))))))))))))))))))))))))))))))
-                                                          (String ((Ascii
-                                                          (true, true, true,
-                                                          true, false, false,
-                                                          true, false)),
-                                                          (String ((Ascii
-                                                          (false, false,
-                                                          true, false, false,
-                                                          false, true,
-                                                          false)), (String
-                                                          ((Ascii (false,
-                                                          true, true, false,
-                                                          false, false, true,
-                                                          false)), (String
-                                                          ((Ascii (true,
-                                                          false, false, true,
-                                                          false, false, true,
-                                                          false)), (String
-                                                          ((Ascii (true,
-                                                          false, false, true,
-                                                          false, false, true,
-                                                          false)), (String
-                                                          ((Ascii (false,
-                                                          false, true, false,
-                                                          false, true, true,
-                                                          false)), (String
-                                                          ((Ascii (true,
-                                                          false, true, false,
-                                                          false, true, true,
-                                                          false)), (String
-                                                          ((Ascii (false,
-                                                          true, true, true,
-                                                          false, true, true,
-                                                          false)), (String
-                                                          ((Ascii (false,
-                                                          false, true, false,
-                                                          true, true, true,
-                                                          false)), (String
-                                                          ((Ascii (true,
-                                                          false, false, true,
-                                                          false, true, true,
-                                                          false)), (String
-                                                          ((Ascii (false,
-                                                          true, true, false,
-                                                          false, true, true,
-                                                          false)), (String
-                                                          ((Ascii (true,
-                                                          false, false, true,
-                                                          false, true, true,
-                                                          false)), (String
-                                                          ((Ascii (true,
-                                                          true, false, false,
-                                                          false, true, true,
-                                                          false)), (String
-                                                          ((Ascii (true,
-                                                          false, false,
-                                                          false, false, true,
-                                                          true, false)),
-                                                          (String ((Ascii
-                                                          (false, false,
-                                                          true, false, true,
-                                                          true, true,
-                                                          false)), (String
-                                                          ((Ascii (true,
-                                                          false, false, true,
-                                                          false, true, true,
-                                                          false)), (String
-                                                          ((Ascii (true,
-                                                          true, true, true,
-                                                          false, true, true,
-                                                          false)), (String
-                                                          ((Ascii (false,
-                                                          true, true, true,
-                                                          false, true, true,
-                                                          false)),
-                                                          EmptyString))))))))))))))))))))))))))))))))))))
-                                                          ((String ((Ascii
-                                                          (false, false,
-                                                          false, false, true,
-                                                          true, true,
-                                                          false)), (String
-                                                          ((Ascii (true,
-                                                          false, false,
-                                                          false, false, true,
-                                                          true, false)),
-                                                          (String ((Ascii
-                                                          (false, true,
-                                                          false, false, true,
-                                                          true, true,
-                                                          false)), (String
-                                                          ((Ascii (true,
-                                                          true, false, false,
-                                                          true, true, true,
-                                                          false)), (String
-                                                          ((Ascii (true,
-                                                          false, true, false,
-                                                          false, true, true,
-                                                          false)), (String
-                                                          ((Ascii (true,
-                                                          true, false, false,
-                                                          true, false, true,
-                                                          false)), (String
-                                                          ((Ascii (false,
-                                                          false, true, false,
-                                                          true, true, true,
-                                                          false)), (String
-                                                          ((Ascii (false,
-                                                          true, false, false,
-                                                          true, true, true,
-                                                          false)), (String
-                                                          ((Ascii (true,
-                                                          false, false, true,
-                                                          false, true, true,
-                                                          false)), (String
-                                                          ((Ascii (false,
-                                                          true, true, true,
-                                                          false, true, true,
-                                                          false)), (String
-                                                          ((Ascii (true,
-                                                          true, true, false,
-                                                          false, true, true,
-                                                          false)), (String
-                                                          ((Ascii (false,
-                                                          true, true, false,
-                                                          false, false, true,
-                                                          false)), (String
-                                                          ((Ascii (true,
-                                                          false, false, true,
-                                                          false, true, true,
-                                                          false)), (String
-                                                          ((Ascii (true,
-                                                          false, true, false,
-                                                          false, true, true,
-                                                          false)), (String
-                                                          ((Ascii (false,
-                                                          false, true, true,
-                                                          false, true, true,
-                                                          false)), (String
-                                                          ((Ascii (false,
-                                                          false, true, false,
-                                                          false, true, true,
-                                                          false)), (String
-                                                          ((Ascii (true,
-                                                          true, true, false,
-                                                          true, false, true,
-                                                          false)), (String
-                                                          ((Ascii (true,
-                                                          false, false, true,
-                                                          false, true, true,
-                                                          false)), (String
-                                                          ((Ascii (false,
-                                                          false, true, false,
-                                                          true, true, true,
-                                                          false)), (String
-                                                          ((Ascii (false,
-                                                          false, false, true,
-                                                          false, true, true,
-                                                          false)), (String
-                                                          ((Ascii (true,
-                                                          true, true, true,
-                                                          false, false, true,
-                                                          false)), (String
-                                                          ((Ascii (false,
-                                                          false, false,
-                                                          false, true, true,
-                                                          true, false)),
-                                                          (String ((Ascii
-                                                          (false, false,
-                                                          true, false, true,
-                                                          true, true,
-                                                          false)), (String
-                                                          ((Ascii (true,
-                                                          true, false, false,
-                                                          true, true, true,
-                                                          false)),
-                                                          EmptyString)))))))))))))))))))))))))))))))))))))))))))))))) :: [])) :: (
-    (mkcut (S (S (S (S (S (S (S (S (S (S (S (S (S (S (S (S (S (S (S (S (S (S
-      (S (S (S (S (S (S (S (S (S (S (S (S (S (S (S (S (S (S (S (S (S (S (S (S
-      (S (S (S (S (S (S (S (S (S (S (S (S (S (S (S (S (S (S (S (S (S (S (S (S
-      (S (S (S (S (S (S (S (S (S (S (S (S (S (S (S (S (S
-      O)))))))))))))))))))))))))))))))))))))))))))))))))))))))))))))))))))))))))))))))))))))))
-      (S (S (S (S (S (S (S (S (S (S (S (S (S (S (S (S (S (S (S (S (S (S (S (S
-      (S (S (S (S (S (S (S (S (S (S (S (S (S (S (S (S (S (S (S (S (S (S (S (S
-      (S (S (S (S (S (S (S (S (S (S (S (S (S (S (S (S (S (S (S (S (S (S (S (S
-      (S (S (S (S (S (S (S (S (S (S (S (S (S (S (S (S (S (S (S (S (S (S
-      O))))))))))))))))))))))))))))))))))))))))))))))))))))))))))))))))))))))))))))))))))))))))))))))
-      (String ((Ascii (false, true, false, false, false, false, true,
-      false)), (String ((Ascii (true, false, false, false, false, true, true,
-      false)), (String ((Ascii (false, false, true, false, true, true, true,
-      false)), (String ((Ascii (true, true, false, false, false, true, true,
-      false)), (String ((Ascii (false, false, false, true, false, true, true,
-      false)), (String ((Ascii (false, true, true, true, false, false, true,
-      false)), (String ((Ascii (true, false, true, false, true, true, true,
-      false)), (String ((Ascii (true, false, true, true, false, true, true,
-      false)), (String ((Ascii (false, true, false, false, false, true, true,
-      false)), (String ((Ascii (true, false, true, false, false, true, true,
-      false)), (String ((Ascii (false, true, false, false, true, true, true,
-      false)), EmptyString)))))))))))))))))))))) ((String ((Ascii (false,
-      false, false, false, true, true, true, false)), (String ((Ascii (true,
-      false, false, false, false, true, true, false)), (String ((Ascii
-      (false, true, false, false, true, true, true, false)), (String ((Ascii
-      (true, true, false, false, true, true, true, false)), (String ((Ascii
-      (true, false, true, false, false, true, true, false)), (String ((Ascii
-      (false, true, true, true, false, false, true, false)), (String ((Ascii
-      (true, false, true, false, true, true, true, false)), (String ((Ascii
-      (true, false, true, true, false, true, true, false)), (String ((Ascii
-      (false, true, true, false, false, false, true, false)), (String ((Ascii
-      (true, false, false, true, false, true, true, false)), (String ((Ascii
-      (true, false, true, false, false, true, true, false)), (String ((Ascii
-      (false, false, true, true, false, true, true, false)), (String ((Ascii
-      (false, false, true, false, false, true, true, false)),
-      EmptyString)))))))))))))))))))))))))) :: [])) :: []))))))))))))) }
-
-(** val l_EntryDetail : layout **)
-
-let l_EntryDetail =
-  { l_name = (String ((Ascii (true, false, true, false, false, false, true,
-    false)), (String ((Ascii (false, true, true, true, false, true, true,
-    false)), (String ((Ascii (false, false, true, false, true, true, true,
-    false)), (String ((Ascii (false, true, false, false, true, true, true,
-    false)), (String ((Ascii (true, false, false, true, true, true, true,
-    false)), (String ((Ascii (false, false, true, false, false, false, true,
-    false)), (String ((Ascii (true, false, true, false, false, true, true,
-    false)), (String ((Ascii (false, false, true, false, true, true, true,
-    false)), (String ((Ascii (true, false, false, false, false, true, true,
-    false)), (String ((Ascii (true, false, false, true, false, true, true,
-    false)), (String ((Ascii (false, false, true, true, false, true, true,
-    false)), EmptyString)))))))))))))))))))))); l_ix = IRune; l_segs = ((SLit
-    ((Npos (XO (XI (XI (XO (XI XH)))))) :: [])) :: ((SItoa (String ((Ascii
-    (false, false, true, false, true, false, true, false)), (String ((Ascii
-    (false, true, false, false, true, true, true, false)), (String ((Ascii
-    (true, false, false, false, false, true, true, false)), (String ((Ascii
-    (false, true, true, true, false, true, true, false)), (String ((Ascii
-    (true, true, false, false, true, true, true, false)), (String ((Ascii
-    (true, false, false, false, false, true, true, false)), (String ((Ascii
-    (true, true, false, false, false, true, true, false)), (String ((Ascii
-    (false, false, true, false, true, true, true, false)), (String ((Ascii
-    (true, false, false, true, false, true, true, false)), (String ((Ascii
-    (true, true, true, true, false, true, true, false)), (String ((Ascii
-    (false, true, true, true, false, true, true, false)), (String ((Ascii
-    (true, true, false, false, false, false, true, false)), (String ((Ascii
-    (true, true, true, true, false, true, true, false)), (String ((Ascii
-    (false, false, true, false, false, true, true, false)), (String ((Ascii
-    (true, false, true, false, false, true, true, false)),
-    EmptyString))))))))))))))))))))))))))))))) :: ((SStr ((String ((Ascii
-    (false, true, false, false, true, false, true, false)), (String ((Ascii
-    (false, false, true, false, false, false, true, false)), (String ((Ascii
-    (false, true, true, false, false, false, true, false)), (String ((Ascii
-    (true, false, false, true, false, false, true, false)), (String ((Ascii
-    (true, false, false, true, false, false, true, false)), (String ((Ascii
-    (false, false, true, false, false, true, true, false)), (String ((Ascii
-    (true, false, true, false, false, true, true, false)), (String ((Ascii
-    (false, true, true, true, false, true, true, false)), (String ((Ascii
-    (false, false, true, false, true, true, true, false)), (String ((Ascii
-    (true, false, false, true, false, true, true, false)), (String ((Ascii
-    (false, true, true, false, false, true, true, false)), (String ((Ascii
-    (true, false, false, true, false, true, true, false)), (String ((Ascii
-    (true, true, false, false, false, true, true, false)), (String ((Ascii
-    (true, false, false, false, false, true, true, false)), (String ((Ascii
-    (false, false, true, false, true, true, true, false)), (String ((Ascii
-    (true, false, false, true, false, true, true, false)), (String ((Ascii
-    (true, true, true, true, false, true, true, false)), (String ((Ascii
-    (false, true, true, true, false, true, true, false)),
-    EmptyString)))))))))))))))))))))))))))))))))))), (S (S (S (S (S (S (S (S
-    O)))))))))) :: ((SRaw (String ((Ascii (true, true, false, false, false,
-    false, true, false)), (String ((Ascii (false, false, false, true, false,
-    true, true, false)), (String ((Ascii (true, false, true, false, false,
-    true, true, false)), (String ((Ascii (true, true, false, false, false,
-    true, true, false)), (String ((Ascii (true, true, false, true, false,
-    true, true, false)), (String ((Ascii (false, false, true, false, false,
-    false, true, false)), (String ((Ascii (true, false, false, true, false,
-    true, true, false)), (String ((Ascii (true, true, true, false, false,
-    true, true, false)), (String ((Ascii (true, false, false, true, false,
-    true, true, false)), (String ((Ascii (false, false, true, false, true,
-    true, true, false)), EmptyString))))))))))))))))))))) :: ((SAlpha
-    ((String ((Ascii (false, false, true, false, false, false, true, false)),
-    (String ((Ascii (false, true, true, false, false, false, true, false)),
-    (String ((Ascii (true, false, false, true, false, false, true, false)),
-    (String ((Ascii (true, false, false, false, false, false, true, false)),
-    (String ((Ascii (true, true, false, false, false, true, true, false)),
-    (String ((Ascii (true, true, false, false, false, true, true, false)),
-    (String ((Ascii (true, true, true, true, false, true, true, false)),
-    (String ((Ascii (true, false, true, false, true, true, true, false)),
-    (String ((Ascii (false, true, true, true, false, true, true, false)),
-    (String ((Ascii (false, false, true, false, true, true, true, false)),
-    (String ((Ascii (false, true, true, true, false, false, true, false)),
-    (String ((Ascii (true, false, true, false, true, true, true, false)),
-    (String ((Ascii (true, false, true, true, false, true, true, false)),
-    (String ((Ascii (false, true, false, false, false, true, true, false)),
-    (String ((Ascii (true, false, true, false, false, true, true, false)),
-    (String ((Ascii (false, true, false, false, true, true, true, false)),
-    EmptyString)))))))))))))))))))))))))))))))), (S (S (S (S (S (S (S (S (S
-    (S (S (S (S (S (S (S (S O))))))))))))))))))) :: ((SNum ((String ((Ascii
-    (true, false, false, false, false, false, true, false)), (String ((Ascii
-    (true, false, true, true, false, true, true, false)), (String ((Ascii
-    (true, true, true, true, false, true, true, false)), (String ((Ascii
-    (true, false, true, false, true, true, true, false)), (String ((Ascii
-    (false, true, true, true, false, true, true, false)), (String ((Ascii
-    (false, false, true, false, true, true, true, false)),
-    EmptyString)))))))))))), (S (S (S (S (S (S (S (S (S (S
-    O)))))))))))) :: ((SAlpha ((String ((Ascii (true, false, false, true,
-    false, false, true, false)), (String ((Ascii (false, false, true, false,
-    false, true, true, false)), (String ((Ascii (true, false, true, false,
-    false, true, true, false)), (String ((Ascii (false, true, true, true,
-    false, true, true, false)), (String ((Ascii (false, false, true, false,
-    true, true, true, false)), (String ((Ascii (true, false, false, true,
-    false, true, true, false)), (String ((Ascii (false, true, true, false,
-    false, true, true, false)), (String ((Ascii (true, false, false, true,
-    false, true, true, false)), (String ((Ascii (true, true, false, false,
-    false, true, true, false)), (String ((Ascii (true, false, false, false,
-    false, true, true, false)), (String ((Ascii (false, false, true, false,
-    true, true, true, false)), (String ((Ascii (true, false, false, true,
-    false, true, true, false)), (String ((Ascii (true, true, true, true,
-    false, true, true, false)), (String ((Ascii (false, true, true, true,
-    false, true, true, false)), (String ((Ascii (false, true, true, true,
-    false, false, true, false)), (String ((Ascii (true, false, true, false,
-    true, true, true, false)), (String ((Ascii (true, false, true, true,
-    false, true, true, false)), (String ((Ascii (false, true, false, false,
-    false, true, true, false)), (String ((Ascii (true, false, true, false,
-    false, true, true, false)), (String ((Ascii (false, true, false, false,
-    true, true, true, false)),
-    EmptyString)))))))))))))))))))))))))))))))))))))))), (S (S (S (S (S (S (S
-    (S (S (S (S (S (S (S (S O))))))))))))))))) :: ((SAlpha ((String ((Ascii
-    (true, false, false, true, false, false, true, false)), (String ((Ascii
-    (false, true, true, true, false, true, true, false)), (String ((Ascii
-    (false, false, true, false, false, true, true, false)), (String ((Ascii
-    (true, false, false, true, false, true, true, false)), (String ((Ascii
-    (false, true, true, false, true, true, true, false)), (String ((Ascii
-    (true, false, false, true, false, true, true, false)), (String ((Ascii
-    (false, false, true, false, false, true, true, false)), (String ((Ascii
-    (true, false, true, false, true, true, true, false)), (String ((Ascii
-    (true, false, false, false, false, true, true, false)), (String ((Ascii
-    (false, false, true, true, false, true, true, false)), (String ((Ascii
-    (false, true, true, true, false, false, true, false)), (String ((Ascii
-    (true, false, false, false, false, true, true, false)), (String ((Ascii
-    (true, false, true, true, false, true, true, false)), (String ((Ascii
-    (true, false, true, false, false, true, true, false)),
-    EmptyString)))))))))))))))))))))))))))), (S (S (S (S (S (S (S (S (S (S (S
-    (S (S (S (S (S (S (S (S (S (S (S O)))))))))))))))))))))))) :: ((SAlpha
-    ((String ((Ascii (false, false, true, false, false, false, true, false)),
-    (String ((Ascii (true, false, false, true, false, true, true, false)),
-    (String ((Ascii (true, true, false, false, true, true, true, false)),
-    (String ((Ascii (true, true, false, false, false, true, true, false)),
-    (String ((Ascii (false, true, false, false, true, true, true, false)),
-    (String ((Ascii (true, false, true, false, false, true, true, false)),
-    (String ((Ascii (false, false, true, false, true, true, true, false)),
-    (String ((Ascii (true, false, false, true, false, true, true, false)),
-    (String ((Ascii (true, true, true, true, false, true, true, false)),
-    (String ((Ascii (false, true, true, true, false, true, true, false)),
-    (String ((Ascii (true, false, false, false, false, true, true, false)),
-    (String ((Ascii (false, true, false, false, true, true, true, false)),
-    (String ((Ascii (true, false, false, true, true, true, true, false)),
-    (String ((Ascii (false, false, true, false, false, false, true, false)),
-    (String ((Ascii (true, false, false, false, false, true, true, false)),
-    (String ((Ascii (false, false, true, false, true, true, true, false)),
-    (String ((Ascii (true, false, false, false, false, true, true, false)),
-    EmptyString)))))))))))))))))))))))))))))))))), (S (S O)))) :: ((SItoa
-    (String ((Ascii (true, false, false, false, false, false, true, false)),
-    (String ((Ascii (false, false, true, false, false, true, true, false)),
-    (String ((Ascii (false, false, true, false, false, true, true, false)),
-    (String ((Ascii (true, false, true, false, false, true, true, false)),
-    (String ((Ascii (false, true, true, true, false, true, true, false)),
-    (String ((Ascii (false, false, true, false, false, true, true, false)),
-    (String ((Ascii (true, false, false, false, false, true, true, false)),
-    (String ((Ascii (false, true, false, false, true, false, true, false)),
-    (String ((Ascii (true, false, true, false, false, true, true, false)),
-    (String ((Ascii (true, true, false, false, false, true, true, false)),
-    (String ((Ascii (true, true, true, true, false, true, true, false)),
-    (String ((Ascii (false, true, false, false, true, true, true, false)),
-    (String ((Ascii (false, false, true, false, false, true, true, false)),
-    (String ((Ascii (true, false, false, true, false, false, true, false)),
-    (String ((Ascii (false, true, true, true, false, true, true, false)),
-    (String ((Ascii (false, false, true, false, false, true, true, false)),
-    (String ((Ascii (true, false, false, true, false, true, true, false)),
-    (String ((Ascii (true, true, false, false, false, true, true, false)),
-    (String ((Ascii (true, false, false, false, false, true, true, false)),
-    (String ((Ascii (false, false, true, false, true, true, true, false)),
-    (String ((Ascii (true, true, true, true, false, true, true, false)),
-    (String ((Ascii (false, true, false, false, true, true, true, false)),
-    EmptyString))))))))))))))))))))))))))))))))))))))))))))) :: ((SStr
-    ((String ((Ascii (false, false, true, false, true, false, true, false)),
-    (String ((Ascii (false, true, false, false, true, true, true, false)),
-    (String ((Ascii (true, false, false, false, false, true, true, false)),
-    (String ((Ascii (true, true, false, false, false, true, true, false)),
-    (String ((Ascii (true, false, true, false, false, true, true, false)),
-    (String ((Ascii (false, true, true, true, false, false, true, false)),
-    (String ((Ascii (true, false, true, false, true, true, true, false)),
-    (String ((Ascii (true, false, true, true, false, true, true, false)),
-    (String ((Ascii (false, true, false, false, false, true, true, false)),
-    (String ((Ascii (true, false, true, false, false, true, true, false)),
-    (String ((Ascii (false, true, false, false, true, true, true, false)),
-    EmptyString)))))))))))))))))))))), (S (S (S (S (S (S (S (S (S (S (S (S (S
-    (S (S O))))))))))))))))) :: []))))))))))); l_cuts =
-    ((mkcut O (S O) EmptyString []) :: ((mkcut (S O) (S (S (S O))) (String
-                                          ((Ascii (false, false, true, false,
-                                          true, false, true, false)), (String
-                                          ((Ascii (false, true, false, false,
-                                          true, true, true, false)), (String
-                                          ((Ascii (true, false, false, false,
-                                          false, true, true, false)), (String
-                                          ((Ascii (false, true, true, true,
-                                          false, true, true, false)), (String
-                                          ((Ascii (true, true, false, false,
-                                          true, true, true, false)), (String
-                                          ((Ascii (true, false, false, false,
-                                          false, true, true, false)), (String
-                                          ((Ascii (true, true, false, false,
-                                          false, true, true, false)), (String
-                                          ((Ascii (false, false, true, false,
-                                          true, true, true, false)), (String
-                                          ((Ascii (true, false, false, true,
-                                          false, true, true, false)), (String
-                                          ((Ascii (true, true, true, true,
-                                          false, true, true, false)), (String
-                                          ((Ascii (false, true, true, true,
-                                          false, true, true, false)), (String
-                                          ((Ascii (true, true, false, false,
-                                          false, false, true, false)),
-                                          (String ((Ascii (true, true, true,
-                                          true, false, true, true, false)),
-                                          (String ((Ascii (false, false,
-                                          true, false, false, true, true,
-                                          false)), (String ((Ascii (true,
-                                          false, true, false, false, true,
-                                          true, false)),
-                                          EmptyString))))))))))))))))))))))))))))))
-                                          ((String ((Ascii (false, false,
-                                          false, false, true, true, true,
-                                          false)), (String ((Ascii (true,
-                                          false, false, false, false, true,
-                                          true, false)), (String ((Ascii
-                                          (false, true, false, false, true,
-                                          true, true, false)), (String
-                                          ((Ascii (true, true, false, false,
-                                          true, true, true, false)), (String
-                                          ((Ascii (true, false, true, false,
-                                          false, true, true, false)), (String
-                                          ((Ascii (false, true, true, true,
-                                          false, false, true, false)),
-                                          (String ((Ascii (true, false, true,
-                                          false, true, true, true, false)),
-                                          (String ((Ascii (true, false, true,
-                                          true, false, true, true, false)),
-                                          (String ((Ascii (false, true, true,
-                                          false, false, false, true, false)),
-                                          (String ((Ascii (true, false,
-                                          false, true, false, true, true,
-                                          false)), (String ((Ascii (true,
-                                          false, true, false, false, true,
-                                          true, false)), (String ((Ascii
-                                          (false, false, true, true, false,
-                                          true, true, false)), (String
-                                          ((Ascii (false, false, true, false,
-                                          false, true, true, false)),
-                                          EmptyString)))))))))))))))))))))))))) :: [])) :: (
-    (mkcut (S (S (S O))) (S (S (S (S (S (S (S (S (S (S (S O)))))))))))
-      (String ((Ascii (false, true, false, false, true, false, true, false)),
-      (String ((Ascii (false, false, true, false, false, false, true,
-      false)), (String ((Ascii (false, true, true, false, false, false, true,
-      false)), (String ((Ascii (true, false, false, true, false, false, true,
-      false)), (String ((Ascii (true, false, false, true, false, false, true,
-      false)), (String ((Ascii (false, false, true, false, false, true, true,
-      false)), (String ((Ascii (true, false, true, false, false, true, true,
-      false)), (String ((Ascii (false, true, true, true, false, true, true,
-      false)), (String ((Ascii (false, false, true, false, true, true, true,
-      false)), (String ((Ascii (true, false, false, true, false, true, true,
-      false)), (String ((Ascii (false, true, true, false, false, true, true,
-      false)), (String ((Ascii (true, false, false, true, false, true, true,
-      false)), (String ((Ascii (true, true, false, false, false, true, true,
-      false)), (String ((Ascii (true, false, false, false, false, true, true,
-      false)), (String ((Ascii (false, false, true, false, true, true, true,
-      false)), (String ((Ascii (true, false, false, true, false, true, true,
-      false)), (String ((Ascii (true, true, true, true, false, true, true,
-      false)), (String ((Ascii (false, true, true, true, false, true, true,
-      false)), EmptyString)))))))))))))))))))))))))))))))))))) []) :: (
-    (mkcut (S (S (S (S (S (S (S (S (S (S (S O))))))))))) (S (S (S (S (S (S (S
-      (S (S (S (S (S O)))))))))))) (String ((Ascii (true, true, false, false,
-      false, false, true, false)), (String ((Ascii (false, false, false,
-      true, false, true, true, false)), (String ((Ascii (true, false, true,
-      false, false, true, true, false)), (String ((Ascii (true, true, false,
-      false, false, true, true, false)), (String ((Ascii (true, true, false,
-      true, false, true, true, false)), (String ((Ascii (false, false, true,
-      false, false, false, true, false)), (String ((Ascii (true, false,
-      false, true, false, true, true, false)), (String ((Ascii (true, true,
-      true, false, false, true, true, false)), (String ((Ascii (true, false,
-      false, true, false, true, true, false)), (String ((Ascii (false, false,
-      true, false, true, true, true, false)), EmptyString))))))))))))))))))))
-      []) :: ((mkcut (S (S (S (S (S (S (S (S (S (S (S (S O)))))))))))) (S (S
-                (S (S (S (S (S (S (S (S (S (S (S (S (S (S (S (S (S (S (S (S
-                (S (S (S (S (S (S (S O))))))))))))))))))))))))))))) (String
-                ((Ascii (false, false, true, false, false, false, true,
-                false)), (String ((Ascii (false, true, true, false, false,
-                false, true, false)), (String ((Ascii (true, false, false,
-                true, false, false, true, false)), (String ((Ascii (true,
-                false, false, false, false, false, true, false)), (String
-                ((Ascii (true, true, false, false, false, true, true,
-                false)), (String ((Ascii (true, true, false, false, false,
-                true, true, false)), (String ((Ascii (true, true, true, true,
-                false, true, true, false)), (String ((Ascii (true, false,
-                true, false, true, true, true, false)), (String ((Ascii
-                (false, true, true, true, false, true, true, false)), (String
-                ((Ascii (false, false, true, false, true, true, true,
-                false)), (String ((Ascii (false, true, true, true, false,
-                false, true, false)), (String ((Ascii (true, false, true,
-                false, true, true, true, false)), (String ((Ascii (true,
-                false, true, true, false, true, true, false)), (String
-                ((Ascii (false, true, false, false, false, true, true,
-                false)), (String ((Ascii (true, false, true, false, false,
-                true, true, false)), (String ((Ascii (false, true, false,
-                false, true, true, true, false)),
-                EmptyString)))))))))))))))))))))))))))))))) ((String ((Ascii
-                (false, false, false, false, true, true, true, false)),
-                (String ((Ascii (true, false, false, false, false, true,
-                true, false)), (String ((Ascii (false, true, false, false,
-                true, true, true, false)), (String ((Ascii (true, true,
-                false, false, true, true, true, false)), (String ((Ascii
-                (true, false, true, false, false, true, true, false)),
-                (String ((Ascii (true, true, false, false, true, false, true,
-                false)), (String ((Ascii (false, false, true, false, true,
-                true, true, false)), (String ((Ascii (false, true, false,
-                false, true, true, true, false)), (String ((Ascii (true,
-                false, false, true, false, true, true, false)), (String
-                ((Ascii (false, true, true, true, false, true, true, false)),
-                (String ((Ascii (true, true, true, false, false, true, true,
-                false)), (String ((Ascii (false, true, true, false, false,
-                false, true, false)), (String ((Ascii (true, false, false,
-                true, false, true, true, false)), (String ((Ascii (true,
-                false, true, false, false, true, true, false)), (String
-                ((Ascii (false, false, true, true, false, true, true,
-                false)), (String ((Ascii (false, false, true, false, false,
-                true, true, false)), (String ((Ascii (true, true, true,
-                false, true, false, true, false)), (String ((Ascii (true,
-                false, false, true, false, true, true, false)), (String
-                ((Ascii (false, false, true, false, true, true, true,
-                false)), (String ((Ascii (false, false, false, true, false,
-                true, true, false)), (String ((Ascii (true, true, true, true,
-                false, false, true, false)), (String ((Ascii (false, false,
-                false, false, true, true, true, false)), (String ((Ascii
-                (false, false, true, false, true, true, true, false)),
-                (String ((Ascii (true, true, false, false, true, true, true,
-                false)),
-                EmptyString)))))))))))))))))))))))))))))))))))))))))))))))) :: [])) :: (
-    (mkcut (S (S (S (S (S (S (S (S (S (S (S (S (S (S (S (S (S (S (S (S (S (S
-      (S (S (S (S (S (S (S O))))))))))))))))))))))))))))) (S (S (S (S (S (S
-      (S (S (S (S (S (S (S (S (S (S (S (S (S (S (S (S (S (S (S (S (S (S (S (S
-      (S (S (S (S (S (S (S (S (S O)))))))))))))))))))))))))))))))))))))))
-      (String ((Ascii (true, false, false, false, false, false, true,
-      false)), (String ((Ascii (true, false, true, true, false, true, true,
-      false)), (String ((Ascii (true, true, true, true, false, true, true,
-      false)), (String ((Ascii (true, false, true, false, true, true, true,
-      false)), (String ((Ascii (false, true, true, true, false, true, true,
-      false)), (String ((Ascii (false, false, true, false, true, true, true,
-      false)), EmptyString)))))))))))) ((String ((Ascii (false, false, false,
-      false, true, true, true, false)), (String ((Ascii (true, false, false,
-      false, false, true, true, false)), (String ((Ascii (false, true, false,
-      false, true, true, true, false)), (String ((Ascii (true, true, false,
-      false, true, true, true, false)), (String ((Ascii (true, false, true,
-      false, false, true, true, false)), (String ((Ascii (false, true, true,
-      true, false, false, true, false)), (String ((Ascii (true, false, true,
-      false, true, true, true, false)), (String ((Ascii (true, false, true,
-      true, false, true, true, false)), (String ((Ascii (false, true, true,
-      false, false, false, true, false)), (String ((Ascii (true, false,
-      false, true, false, true, true, false)), (String ((Ascii (true, false,
-      true, false, false, true, true, false)), (String ((Ascii (false, false,
-      true, true, false, true, true, false)), (String ((Ascii (false, false,
-      true, false, false, true, true, false)),
-      EmptyString)))))))))))))))))))))))))) :: [])) :: ((mkcut (S (S (S (S (S
-                                                          (S (S (S (S (S (S
-                                                          (S (S (S (S (S (S
-                                                          (S (S (S (S (S (S
-                                                          (S (S (S (S (S (S
-                                                          (S (S (S (S (S (S
-                                                          (S (S (S (S
-                                                          O)))))))))))))))))))))))))))))))))))))))
-                                                          (S (S (S (S (S (S
-                                                          (S (S (S (S (S (S
-                                                          (S (S (S (S (S (S
-                                                          (S (S (S (S (S (S
-                                                          (S (S (S (S (S (S
-                                                          (S (S (S (S (S (S
-                                                          (S (S (S (S (S (S
-                                                          (S (S (S (S (S (S
-                                                          (S (S (S (S (S (S
-                                                          O))))))))))))))))))))))))))))))))))))))))))))))))))))))
-                                                          (String ((Ascii
-                                                          (true, false,
-                                                          false, true, false,
-                                                          false, true,
-                                                          false)), (String
-                                                          ((Ascii (false,
-                                                          false, true, false,
-                                                          false, true, true,
-                                                          false)), (String
-                                                          ((Ascii (true,
-                                                          false, true, false,
-                                                          false, true, true,
-                                                          false)), (String
-                                                          ((Ascii (false,
-                                                          true, true, true,
-                                                          false, true, true,
-                                                          false)), (String
-                                                          ((Ascii (false,
-                                                          false, true, false,
-                                                          true, true, true,
-                                                          false)), (String
-                                                          ((Ascii (true,
-                                                          false, false, true,
-                                                          false, true, true,
-                                                          false)), (String
-                                                          ((Ascii (false,
-                                                          true, true, false,
-                                                          false, true, true,
-                                                          false)), (String
-                                                          ((Ascii (true,
-                                                          false, false, true,
-                                                          false, true, true,
-                                                          false)), (String
-                                                          ((Ascii (true,
-                                                          true, false, false,
-                                                          false, true, true,
-                                                          false)), (String
-                                                          ((Ascii (true,
-                                                          false, false,
-                                                          false, false, true,
-                                                          true, false)),
-                                                          (String ((Ascii
-                                                          (false, false,
-                                                          true, false, true,
-                                                          true, true,
-                                                          false)), (String
-                                                          ((Ascii (true,
-                                                          false, false, true,
-                                                          false, true, true,
-                                                          false)), (String
-                                                          ((Ascii (true,
-                                                          true, true, true,
-                                                          false, true, true,
-                                                          false)), (String
-                                                          ((Ascii (false,
-                                                          true, true, true,
-                                                          false, true, true,
-                                                          false)), (String
-                                                          ((Ascii (false,
-                                                          true, true, true,
-                                                          false, false, true,
-                                                          false)), (String
-                                                          ((Ascii (true,
-                                                          false, true, false,
-                                                          true, true, true,
-                                                          false)), (String
-                                                          ((Ascii (true,
-                                                          false, true, true,
-                                                          false, true, true,
-                                                          false)), (String
-                                                          ((Ascii (false,
-                                                          true, false, false,
-                                                          false, true, true,
-                                                          false)), (String
-                                                          ((Ascii (true,
-                                                          false, true, false,
-                                                          false, true, true,
-                                                          false)), (String
-                                                          ((Ascii (false,
-                                                          true, false, false,
-                                                          true, true, true,
-                                                          false)),
-                                                          EmptyString))))))))))))))))))))))))))))))))))))))))
-                                                          []) :: ((mkcut (S
-                                                                    (S (S (S
-                                                                    (S (S (S
-                                                                    (S (S (S
-                                                                    (S (S (S
-                                                                    (S (S (S
-                                                                    (S (S (S
-                                                                    (S (S (S
-                                                                    (S (S (S
-                                                                    (S (S (S
-                                                                    (S (S (S
-                                                                    (S (S (S
-                                                                    (S (S (S
-                                                                    (S (S (S
-                                                                    (S (S (S
-                                                                    (S (S (S
-                                                                    (S (S (S
-                                                                    (S (S (S
-                                                                    (S (S
-                                                                    O))))))))))))))))))))))))))))))))))))))))))))))))))))))
-                                                                    (S (S (S
-                                                                    (S (S (S
-                                                                    (S (S (S
-                                                                    (S (S (S
-                                                                    (S (S (S
-                                                                    (S (S (S
-                                                                    (S (S (S
-                                                                    (S (S (S
-                                                                    (S (S (S
-                                                                    (S (S (S
-                                                                    (S (S (S
-                                                                    (S (S (S
-                                                                    (S (S (S
-                                                                    (S (S (S
-                                                                    (S (S (S
-                                                                    (S (S (S
-                                                                    (S (S (S
-                                                                    (S (S (S
-                                                                    (S (S (S
-                                                                    (S (S (S
-                                                                    (S (S (S
-                                                                    (S (S (S
-                                                                    (S (S (S
-                                                                    (S (S (S
-                                                                    (S (S (S
-                                                                    (S
-                                                                    O))))))))))))))))))))))))))))))))))))))))))))))))))))))))))))))))))))))))))))
-                                                                    (String
-                                                                    ((Ascii
-                                                                    (true,
-                                                                    false,
-                                                                    false,
-                                                                    true,
-                                                                    false,
-                                                                    false,
-                                                                    true,
-                                                                    false)),
-                                                                    (String
-                                                                    ((Ascii
-                                                                    (false,
-                                                                    true,
-                                                                    true,
-                                                                    true,
-                                                                    false,
-                                                                    true,
-                                                                    true,
-                                                                    false)),
-                                                                    (String
-                                                                    ((Ascii
-                                                                    (false,
-                                                                    false,
-                                                                    true,
-                                                                    false,
-                                                                    false,
-                                                                    true,
-                                                                    true,
-                                                                    false)),
-                                                                    (String
-                                                                    ((Ascii
-                                                                    (true,
-                                                                    false,
-                                                                    false,
-                                                                    true,
-                                                                    false,
-                                                                    true,
-                                                                    true,
-                                                                    false)),
-                                                                    (String
-                                                                    ((Ascii
-                                                                    (false,
-                                                                    true,
-                                                                    true,
-                                                                    false,
-                                                                    true,
-                                                                    true,
-                                                                    true,
-                                                                    false)),
-                                                                    (String
-                                                                    ((Ascii
-                                                                    (true,
-                                                                    false,
-                                                                    false,
-                                                                    true,
-                                                                    false,
-                                                                    true,
-                                                                    true,
-                                                                    false)),
-                                                                    (String
-                                                                    ((Ascii
-                                                                    (false,
-                                                                    false,
-                                                                    true,
-                                                                    false,
-                                                                    false,
-                                                                    true,
-                                                                    true,
-                                                                    false)),
-                                                                    (String
-                                                                    ((Ascii
-                                                                    (true,
-                                                                    false,
-                                                                    true,
-                                                                    false,
-                                                                    true,
-                                                                    true,
-                                                                    true,
-                                                                    false)),
-                                                                    (String
-                                                                    ((Ascii
-                                                                    (true,
-                                                                    false,
-                                                                    false,
-                                                                    false,
-                                                                    false,
-                                                                    true,
-                                                                    true,
-                                                                    false)),
-                                                                    (String
-                                                                    ((Ascii
-                                                                    (false,
-                                                                    false,
-                                                                    true,
-                                                                    true,
-                                                                    false,
-                                                                    true,
-                                                                    true,
-                                                                    false)),
-                                                                    (String
-                                                                    ((Ascii
-                                                                    (false,
-                                                                    true,
-                                                                    true,
-                                                                    true,
-                                                                    false,
-                                                                    false,
-                                                                    true,
-                                                                    false)),
-                                                                    (String
-                                                                    ((Ascii
-                                                                    (true,
-                                                                    false,
-                                                                    false,
-                                                                    false,
-                                                                    false,
-                                                                    true,
-                                                                    true,
-                                                                    false)),
-                                                                    (String
-                                                                    ((Ascii
-                                                                    (true,
-                                                                    false,
-                                                                    true,
-                                                                    true,
-                                                                    false,
-                                                                    true,
-                                                                    true,
-                                                                    false)),
-                                                                    (String
-                                                                    ((Ascii
-                                                                    (true,
-                                                                    false,
-                                                                    true,
-                                                                    false,
-                                                                    false,
-                                                                    true,
-                                                                    true,
-                                                                    false)),
-                                                                    EmptyString))))))))))))))))))))))))))))
-                                                                    []) :: (
-    (mkcut (S (S (S (S (S (S (S (S (S (S (S (S (S (S (S (S (S (S (S (S (S (S
-      (S (S (S (S (S (S (S (S (S (S (S (S (S (S (S (S (S (S (S (S (S (S (S (S
-      (S (S (S (S (S (S (S (S (S (S (S (S (S (S (S (S (S (S (S (S (S (S (S (S
-      (S (S (S (S (S (S
-      O))))))))))))))))))))))))))))))))))))))))))))))))))))))))))))))))))))))))))))
-      (S (S (S (S (S (S (S (S (S (S (S (S (S (S (S (S (S (S (S (S (S (S (S (S
-      (S (S (S (S (S (S (S (S (S (S (S (S (S (S (S (S (S (S (S (S (S (S (S (S
-      (S (S (S (S (S (S (S (S (S (S (S (S (S (S (S (S (S (S (S (S (S (S (S (S
-      (S (S (S (S (S (S
-      O))))))))))))))))))))))))))))))))))))))))))))))))))))))))))))))))))))))))))))))
-      (String ((Ascii (false, false, true, false, false, false, true,
-      false)), (String ((Ascii (true, false, false, true, false, true, true,
-      false)), (String ((Ascii (true, true, false, false, true, true, true,
-      false)), (String ((Ascii (true, true, false, false, false, true, true,
-      false)), (String ((Ascii (false, true, false, false, true, true, true,
-      false)), (String ((Ascii (true, false, true, false, false, true, true,
-      false)), (String ((Ascii (false, false, true, false, true, true, true,
-      false)), (String ((Ascii (true, false, false, true, false, true, true,
-      false)), (String ((Ascii (true, true, true, true, false, true, true,
-      false)), (String ((Ascii (false, true, true, true, false, true, true,
-      false)), (String ((Ascii (true, false, false, false, false, true, true,
-      false)), (String ((Ascii (false, true, false, false, true, true, true,
-      false)), (String ((Ascii (true, false, false, true, true, true, true,
-      false)), (String ((Ascii (false, false, true, false, false, false,
-      true, false)), (String ((Ascii (true, false, false, false, false, true,
-      true, false)), (String ((Ascii (false, false, true, false, true, true,
-      true, false)), (String ((Ascii (true, false, false, false, false, true,
-      true, false)), EmptyString)))))))))))))))))))))))))))))))))) []) :: (
-    (mkcut (S (S (S (S (S (S (S (S (S (S (S (S (S (S (S (S (S (S (S (S (S (S
-      (S (S (S (S (S (S (S (S (S (S (S (S (S (S (S (S (S (S (S (S (S (S (S (S
-      (S (S (S (S (S (S (S (S (S (S (S (S (S (S (S (S (S (S (S (S (S (S (S (S
-      (S (S (S (S (S (S (S (S
-      O))))))))))))))))))))))))))))))))))))))))))))))))))))))))))))))))))))))))))))))
-      (S (S (S (S (S (S (S (S (S (S (S (S (S (S (S (S (S (S (S (S (S (S (S (S
-      (S (S (S (S (S (S (S (S (S (S (S (S (S (S (S (S (S (S (S (S (S (S (S (S
-      (S (S (S (S (S (S (S (S (S (S (S (S (S (S (S (S (S (S (S (S (S (S (S (S
-      (S (S (S (S (S (S (S
-      O)))))))))))))))))))))))))))))))))))))))))))))))))))))))))))))))))))))))))))))))
-      (String ((Ascii (true, false, false, false, false, false, true,
-      false)), (String ((Ascii (false, false, true, false, false, true, true,
-      false)), (String ((Ascii (false, false, true, false, false, true, true,
-      false)), (String ((Ascii (true, false, true, false, false, true, true,
-      false)), (String ((Ascii (false, true, true, true, false, true, true,
-      false)), (String ((Ascii (false, false, true, false, false, true, true,
-      false)), (String ((Ascii (true, false, false, false, false, true, true,
-      false)), (String ((Ascii (false, true, false, false, true, false, true,
-      false)), (String ((Ascii (true, false, true, false, false, true, true,
-      false)), (String ((Ascii (true, true, false, false, false, true, true,
-      false)), (String ((Ascii (true, true, true, true, false, true, true,
-      false)), (String ((Ascii (false, true, false, false, true, true, true,
-      false)), (String ((Ascii (false, false, true, false, false, true, true,
-      false)), (String ((Ascii (true, false, false, true, false, false, true,
-      false)), (String ((Ascii (false, true, true, true, false, true, true,
-      false)), (String ((Ascii (false, false, true, false, false, true, true,
-      false)), (String ((Ascii (true, false, false, true, false, true, true,
-      false)), (String ((Ascii (true, true, false, false, false, true, true,
-      false)), (String ((Ascii (true, false, false, false, false, true, true,
-      false)), (String ((Ascii (false, false, true, false, true, true, true,
-      false)), (String ((Ascii (true, true, true, true, false, true, true,
-      false)), (String ((Ascii (false, true, false, false, true, true, true,
-      false)), EmptyString))))))))))))))))))))))))))))))))))))))))))))
-      ((String ((Ascii (false, false, false, false, true, true, true,
-      false)), (String ((Ascii (true, false, false, false, false, true, true,
-      false)), (String ((Ascii (false, true, false, false, true, true, true,
-      false)), (String ((Ascii (true, true, false, false, true, true, true,
-      false)), (String ((Ascii (true, false, true, false, false, true, true,
-      false)), (String ((Ascii (false, true, true, true, false, false, true,
-      false)), (String ((Ascii (true, false, true, false, true, true, true,
-      false)), (String ((Ascii (true, false, true, true, false, true, true,
-      false)), (String ((Ascii (false, true, true, false, false, false, true,
-      false)), (String ((Ascii (true, false, false, true, false, true, true,
-      false)), (String ((Ascii (true, false, true, false, false, true, true,
-      false)), (String ((Ascii (false, false, true, true, false, true, true,
-      false)), (String ((Ascii (false, false, true, false, false, true, true,
-      false)), EmptyString)))))))))))))))))))))))))) :: [])) :: ((mkcut (S (S
-                                                                   (S (S (S
-                                                                   (S (S (S
-                                                                   (S (S (S
-                                                                   (S (S (S
-                                                                   (S (S (S
-                                                                   (S (S (S
-                                                                   (S (S (S
-                                                                   (S (S (S
-                                                                   (S (S (S
-                                                                   (S (S (S
-                                                                   (S (S (S
-                                                                   (S (S (S
-                                                                   (S (S (S
-                                                                   (S (S (S
-                                                                   (S (S (S
-                                                                   (S (S (S
-                                                                   (S (S (S
-                                                                   (S (S (S
-                                                                   (S (S (S
-                                                                   (S (S (S
-                                                                   (S (S (S
-                                                                   (S (S (S
-                                                                   (S (S (S
-                                                                   (S (S (S
-                                                                   (S (S (S
-                                                                   (S (S
-                                                                   O)))))))))))))))))))))))))))))))))))))))))))))))))))))))))))))))))))))))))))))))
-                                                                   (S (S (S
-                                                                   (S (S (S
-                                                                   (S (S (S
-                                                                   (S (S (S
-                                                                   (S (S (S
-                                                                   (S (S (S
-                                                                   (S (S (S
-                                                                   (S (S (S
-                                                                   (S (S (S
-                                                                   (S (S (S
-                                                                   (S (S (S
-                                                                   (S (S (S
-                                                                   (S (S (S
-                                                                   (S (S (S
-                                                                   (S (S (S
-                                                                   (S (S (S
-                                                                   (S (S (S
-                                                                   (S (S (S
-                                                                   (S (S (S
-                                                                   (S (S (S
-                                                                   (S (S (S
-                                                                   (S (S (S
-                                                                   (S (S (S
-                                                                   (S (S (S
-                                                                   (S (S (S
-                                                                   (S (S (S
-                                                                   (S (S (S
-                                                                   (S (S (S
-                                                                   (S (S (S
-                                                                   (S (S (S
-                                                                   (S (S (S
-                                                                   (S
-                                                                   O))))))))))))))))))))))))))))))))))))))))))))))))))))))))))))))))))))))))))))))))))))))))))))))
-                                                                   (String
-                                                                   ((Ascii
-                                                                   (false,
-                                                                   false,
-                                                                   true,
-                                                                   false,
-                                                                   true,
-                                                                   false,
-                                                                   true,
-                                                                   false)),
-                                                                   (String
-                                                                   ((Ascii
-                                                                   (false,
-                                                                   true,
-                                                                   false,
-                                                                   false,
-                                                                   true,
-                                                                   true,
-                                                                   true,
-                                                                   false)),
-                                                                   (String
-                                                                   ((Ascii
-                                                                   (true,
-                                                                   false,
-                                                                   false,
-                                                                   false,
-                                                                   false,
-                                                                   true,
-                                                                   true,
-                                                                   false)),
-                                                                   (String
-                                                                   ((Ascii
-                                                                   (true,
-                                                                   true,
-                                                                   false,
-                                                                   false,
-                                                                   false,
-                                                                   true,
-                                                                   true,
-                                                                   false)),
-                                                                   (String
-                                                                   ((Ascii
-                                                                   (true,
-                                                                   false,
-                                                                   true,
-                                                                   false,
-                                                                   false,
-                                                                   true,
-                                                                   true,
-                                                                   false)),
-                                                                   (String
-                                                                   ((Ascii
-                                                                   (false,
-                                                                   true,
-                                                                   true,
-                                                                   true,
-                                                                   false,
-                                                                   false,
-                                                                   true,
-                                                                   false)),
-                                                                   (String
-                                                                   ((Ascii
-                                                                   (true,
-                                                                   false,
-                                                                   true,
-                                                                   false,
-                                                                   true,
-                                                                   true,
-                                                                   true,
-                                                                   false)),
-                                                                   (String
-                                                                   ((Ascii
-                                                                   (true,
-                                                                   false,
-                                                                   true,
-                                                                   true,
-                                                                   false,
-                                                                   true,
-                                                                   true,
-                                                                   false)),
-                                                                   (String
-                                                                   ((Ascii
-                                                                   (false,
-                                                                   true,
-                                                                   false,
-                                                                   false,
-                                                                   false,
-                                                                   true,
-                                                                   true,
-                                                                   false)),
-                                                                   (String
-                                                                   ((Ascii
-                                                                   (true,
-                                                                   false,
-                                                                   true,
-                                                                   false,
-                                                                   false,
-                                                                   true,
-                                                                   true,
-                                                                   false)),
-                                                                   (String
-                                                                   ((Ascii
-                                                                   (false,
-                                                                   true,
-                                                                   false,
-                                                                   false,
-                                                                   true,
-                                                                   true,
-                                                                   true,
-                                                                   false)),
-                                                                   EmptyString))))))))))))))))))))))
-                                                                   []) :: []))))))))))) }
-
-(** val l_FileControl : layout **)
-
-let l_FileControl =
-  { l_name = (String ((Ascii (false, true, true, false, false, false, true,
-    false)), (String ((Ascii (true, false, false, true, false, true, true,
-    false)), (String ((Ascii (false, false, true, true, false, true, true,
-    false)), (String ((Ascii (true, false, true, false, false, true, true,
-    false)), (String ((Ascii (true, true, false, false, false, false, true,
-    false)), (String ((Ascii (true, true, true, true, false, true, true,
-    false)), (String ((Ascii (false, true, true, true, false, true, true,
-    false)), (String ((Ascii (false, false, true, false, true, true, true,
-    false)), (String ((Ascii (false, true, false, false, true, true, true,
-    false)), (String ((Ascii (true, true, true, true, false, true, true,
-    false)), (String ((Ascii (false, false, true, true, false, true, true,
-    false)), EmptyString)))))))))))))))))))))); l_ix = IRune; l_segs = ((SLit
-    ((Npos (XI (XO (XO (XI (XI XH)))))) :: [])) :: ((SNum ((String ((Ascii
-    (false, true, false, false, false, false, true, false)), (String ((Ascii
-    (true, false, false, false, false, true, true, false)), (String ((Ascii
-    (false, false, true, false, true, true, true, false)), (String ((Ascii
-    (true, true, false, false, false, true, true, false)), (String ((Ascii
-    (false, false, false, true, false, true, true, false)), (String ((Ascii
-    (true, true, false, false, false, false, true, false)), (String ((Ascii
-    (true, true, true, true, false, true, true, false)), (String ((Ascii
-    (true, false, true, false, true, true, true, false)), (String ((Ascii
-    (false, true, true, true, false, true, true, false)), (String ((Ascii
-    (false, false, true, false, true, true, true, false)),
-    EmptyString)))))))))))))))))))), (S (S (S (S (S (S O)))))))) :: ((SNum
-    ((String ((Ascii (false, true, false, false, false, false, true, false)),
-    (String ((Ascii (false, false, true, true, false, true, true, false)),
-    (String ((Ascii (true, true, true, true, false, true, true, false)),
-    (String ((Ascii (true, true, false, false, false, true, true, false)),
-    (String ((Ascii (true, true, false, true, false, true, true, false)),
-    (String ((Ascii (true, true, false, false, false, false, true, false)),
-    (String ((Ascii (true, true, true, true, false, true, true, false)),
-    (String ((Ascii (true, false, true, false, true, true, true, false)),
-    (String ((Ascii (false, true, true, true, false, true, true, false)),
-    (String ((Ascii (false, false, true, false, true, true, true, false)),
-    EmptyString)))))))))))))))))))), (S (S (S (S (S (S O)))))))) :: ((SNum
-    ((String ((Ascii (true, false, true, false, false, false, true, false)),
-    (String ((Ascii (false, true, true, true, false, true, true, false)),
-    (String ((Ascii (false, false, true, false, true, true, true, false)),
-    (String ((Ascii (false, true, false, false, true, true, true, false)),
-    (String ((Ascii (true, false, false, true, true, true, true, false)),
-    (String ((Ascii (true, false, false, false, false, false, true, false)),
-    (String ((Ascii (false, false, true, false, false, true, true, false)),
-    (String ((Ascii (false, false, true, false, false, true, true, false)),
-    (String ((Ascii (true, false, true, false, false, true, true, false)),
-    (String ((Ascii (false, true, true, true, false, true, true, false)),
-    (String ((Ascii (false, false, true, false, false, true, true, false)),
-    (String ((Ascii (true, false, false, false, false, true, true, false)),
-    (String ((Ascii (true, true, false, false, false, false, true, false)),
-    (String ((Ascii (true, true, true, true, false, true, true, false)),
-    (String ((Ascii (true, false, true, false, true, true, true, false)),
-    (String ((Ascii (false, true, true, true, false, true, true, false)),
-    (String ((Ascii (false, false, true, false, true, true, true, false)),
-    EmptyString)))))))))))))))))))))))))))))))))), (S (S (S (S (S (S (S (S
-    O)))))))))) :: ((SNum ((String ((Ascii (true, false, true, false, false,
-    false, true, false)), (String ((Ascii (false, true, true, true, false,
-    true, true, false)), (String ((Ascii (false, false, true, false, true,
-    true, true, false)), (String ((Ascii (false, true, false, false, true,
-    true, true, false)), (String ((Ascii (true, false, false, true, true,
-    true, true, false)), (String ((Ascii (false, false, false, true, false,
-    false, true, false)), (String ((Ascii (true, false, false, false, false,
-    true, true, false)), (String ((Ascii (true, true, false, false, true,
-    true, true, false)), (String ((Ascii (false, false, false, true, false,
-    true, true, false)), EmptyString)))))))))))))))))), (S (S (S (S (S (S (S
-    (S (S (S O)))))))))))) :: ((SNum ((String ((Ascii (false, false, true,
-    false, true, false, true, false)), (String ((Ascii (true, true, true,
-    true, false, true, true, false)), (String ((Ascii (false, false, true,
-    false, true, true, true, false)), (String ((Ascii (true, false, false,
-    false, false, true, true, false)), (String ((Ascii (false, false, true,
-    true, false, true, true, false)), (String ((Ascii (false, false, true,
-    false, false, false, true, false)), (String ((Ascii (true, false, true,
-    false, false, true, true, false)), (String ((Ascii (false, true, false,
-    false, false, true, true, false)), (String ((Ascii (true, false, false,
-    true, false, true, true, false)), (String ((Ascii (false, false, true,
-    false, true, true, true, false)), (String ((Ascii (true, false, true,
-    false, false, false, true, false)), (String ((Ascii (false, true, true,
-    true, false, true, true, false)), (String ((Ascii (false, false, true,
-    false, true, true, true, false)), (String ((Ascii (false, true, false,
-    false, true, true, true, false)), (String ((Ascii (true, false, false,
-    true, true, true, true, false)), (String ((Ascii (false, false, true,
-    false, false, false, true, false)), (String ((Ascii (true, true, true,
-    true, false, true, true, false)), (String ((Ascii (false, false, true,
-    true, false, true, true, false)), (String ((Ascii (false, false, true,
-    true, false, true, true, false)), (String ((Ascii (true, false, false,
-    false, false, true, true, false)), (String ((Ascii (false, true, false,
-    false, true, true, true, false)), (String ((Ascii (true, false, false,
-    false, false, false, true, false)), (String ((Ascii (true, false, true,
-    true, false, true, true, false)), (String ((Ascii (true, true, true,
-    true, false, true, true, false)), (String ((Ascii (true, false, true,
-    false, true, true, true, false)), (String ((Ascii (false, true, true,
-    true, false, true, true, false)), (String ((Ascii (false, false, true,
-    false, true, true, true, false)), (String ((Ascii (true, false, false,
-    true, false, false, true, false)), (String ((Ascii (false, true, true,
-    true, false, true, true, false)), (String ((Ascii (false, true, true,
-    false, false, false, true, false)), (String ((Ascii (true, false, false,
-    true, false, true, true, false)), (String ((Ascii (false, false, true,
-    true, false, true, true, false)), (String ((Ascii (true, false, true,
-    false, false, true, true, false)),
-    EmptyString)))))))))))))))))))))))))))))))))))))))))))))))))))))))))))))))))),
-    (S (S (S (S (S (S (S (S (S (S (S (S O)))))))))))))) :: ((SNum ((String
-    ((Ascii (false, false, true, false, true, false, true, false)), (String
-    ((Ascii (true, true, true, true, false, true, true, false)), (String
-    ((Ascii (false, false, true, false, true, true, true, false)), (String
-    ((Ascii (true, false, false, false, false, true, true, false)), (String
-    ((Ascii (false, false, true, true, false, true, true, false)), (String
-    ((Ascii (true, true, false, false, false, false, true, false)), (String
-    ((Ascii (false, true, false, false, true, true, true, false)), (String
-    ((Ascii (true, false, true, false, false, true, true, false)), (String
-    ((Ascii (false, false, true, false, false, true, true, false)), (String
-    ((Ascii (true, false, false, true, false, true, true, false)), (String
-    ((Ascii (false, false, true, false, true, true, true, false)), (String
-    ((Ascii (true, false, true, false, false, false, true, false)), (String
-    ((Ascii (false, true, true, true, false, true, true, false)), (String
-    ((Ascii (false, false, true, false, true, true, true, false)), (String
-    ((Ascii (false, true, false, false, true, true, true, false)), (String
-    ((Ascii (true, false, false, true, true, true, true, false)), (String
-    ((Ascii (false, false, true, false, false, false, true, false)), (String
-    ((Ascii (true, true, true, true, false, true, true, false)), (String
-    ((Ascii (false, false, true, true, false, true, true, false)), (String
-    ((Ascii (false, false, true, true, false, true, true, false)), (String
-    ((Ascii (true, false, false, false, false, true, true, false)), (String
-    ((Ascii (false, true, false, false, true, true, true, false)), (String
-    ((Ascii (true, false, false, false, false, false, true, false)), (String
-    ((Ascii (true, false, true, true, false, true, true, false)), (String
-    ((Ascii (true, true, true, true, false, true, true, false)), (String
-    ((Ascii (true, false, true, false, true, true, true, false)), (String
-    ((Ascii (false, true, true, true, false, true, true, false)), (String
-    ((Ascii (false, false, true, false, true, true, true, false)), (String
-    ((Ascii (true, false, false, true, false, false, true, false)), (String
-    ((Ascii (false, true, true, true, false, true, true, false)), (String
     ((Ascii (false, true, true, false, false, false, true, false)), (String
     ((Ascii (true, false, false, true, false, true, true, false)), (String
     ((Ascii (false, false, true, true, false, true, true, false)), (String
-    ((Ascii (true, false, true, false, false, true, true, false)),
-    EmptyString)))))))))))))))))))))))))))))))))))))))))))))))))))))))))))))))))))),
-    (S (S (S (S (S (S (S (S (S (S (S (S O)))))))))))))) :: ((SLit ((Npos (XO
-    (XO (XO (XO (XO XH)))))) :: ((Npos (XO (XO (XO (XO (XO XH)))))) :: ((Npos
-    (XO (XO (XO (XO (XO XH)))))) :: ((Npos (XO (XO (XO (XO (XO
-    XH)))))) :: ((Npos (XO (XO (XO (XO (XO XH)))))) :: ((Npos (XO (XO (XO (XO
-    (XO XH)))))) :: ((Npos (XO (XO (XO (XO (XO XH)))))) :: ((Npos (XO (XO (XO
-    (XO (XO XH)))))) :: ((Npos (XO (XO (XO (XO (XO XH)))))) :: ((Npos (XO (XO
-    (XO (XO (XO XH)))))) :: ((Npos (XO (XO (XO (XO (XO XH)))))) :: ((Npos (XO
-    (XO (XO (XO (XO XH)))))) :: ((Npos (XO (XO (XO (XO (XO XH)))))) :: ((Npos
-    (XO (XO (XO (XO (XO XH)))))) :: ((Npos (XO (XO (XO (XO (XO
-    XH)))))) :: ((Npos (XO (XO (XO (XO (XO XH)))))) :: ((Npos (XO (XO (XO (XO
-    (XO XH)))))) :: ((Npos (XO (XO (XO (XO (XO XH)))))) :: ((Npos (XO (XO (XO
-    (XO (XO XH)))))) :: ((Npos (XO (XO (XO (XO (XO XH)))))) :: ((Npos (XO (XO
-    (XO (XO (XO XH)))))) :: ((Npos (XO (XO (XO (XO (XO XH)))))) :: ((Npos (XO
-    (XO (XO (XO (XO XH)))))) :: ((Npos (XO (XO (XO (XO (XO XH)))))) :: ((Npos
-    (XO (XO (XO (XO (XO XH)))))) :: ((Npos (XO (XO (XO (XO (XO
-    XH)))))) :: ((Npos (XO (XO (XO (XO (XO XH)))))) :: ((Npos (XO (XO (XO (XO
-    (XO XH)))))) :: ((Npos (XO (XO (XO (XO (XO XH)))))) :: ((Npos (XO (XO (XO
-    (XO (XO XH)))))) :: ((Npos (XO (XO (XO (XO (XO XH)))))) :: ((Npos (XO (XO
-    (XO (XO (XO XH)))))) :: ((Npos (XO (XO (XO (XO (XO XH)))))) :: ((Npos (XO
-    (XO (XO (XO (XO XH)))))) :: ((Npos (XO (XO (XO (XO (XO XH)))))) :: ((Npos
-    (XO (XO (XO (XO (XO XH)))))) :: ((Npos (XO (XO (XO (XO (XO
-    XH)))))) :: ((Npos (XO (XO (XO (XO (XO XH)))))) :: ((Npos (XO (XO (XO (XO
-    (XO XH)))))) :: [])))))))))))))))))))))))))))))))))))))))) :: []))))))));
-    l_cuts =
-    ((mkcut O (S O) EmptyString []) :: ((mkcut (S O) (S (S (S (S (S (S (S
-                                          O))))))) (String ((Ascii (false,
-                                          true, false, false, false, false,
-                                          true, false)), (String ((Ascii
-                                          (true, false, false, false, false,
-                                          true, true, false)), (String
-                                          ((Ascii (false, false, true, false,
-                                          true, true, true, false)), (String
-                                          ((Ascii (true, true, false, false,
-                                          false, true, true, false)), (String
-                                          ((Ascii (false, false, false, true,
-                                          false, true, true, false)), (String
-                                          ((Ascii (true, true, false, false,
-                                          false, false, true, false)),
-                                          (String ((Ascii (true, true, true,
-                                          true, false, true, true, false)),
-                                          (String ((Ascii (true, false, true,
-                                          false, true, true, true, false)),
-                                          (String ((Ascii (false, true, true,
-                                          true, false, true, true, false)),
-                                          (String ((Ascii (false, false,
-                                          true, false, true, true, true,
-                                          false)),
-                                          EmptyString))))))))))))))))))))
-                                          ((String ((Ascii (false, false,
-                                          false, false, true, true, true,
-                                          false)), (String ((Ascii (true,
-                                          false, false, false, false, true,
-                                          true, false)), (String ((Ascii
-                                          (false, true, false, false, true,
-                                          true, true, false)), (String
-                                          ((Ascii (true, true, false, false,
-                                          true, true, true, false)), (String
-                                          ((Ascii (true, false, true, false,
-                                          false, true, true, false)), (String
-                                          ((Ascii (false, true, true, true,
-                                          false, false, true, false)),
-                                          (String ((Ascii (true, false, true,
-                                          false, true, true, true, false)),
-                                          (String ((Ascii (true, false, true,
-                                          true, false, true, true, false)),
-                                          (String ((Ascii (false, true, true,
-                                          false, false, false, true, false)),
-                                          (String ((Ascii (true, false,
-                                          false, true, false, true, true,
-                                          false)), (String ((Ascii (true,
-                                          false, true, false, false, true,
-                                          true, false)), (String ((Ascii
-                                          (false, false, true, true, false,
-                                          true, true, false)), (String
-                                          ((Ascii (false, false, true, false,
-                                          false, true, true, false)),
-                                          EmptyString)))))))))))))))))))))))))) :: [])) :: (
-    (mkcut (S (S (S (S (S (S (S O))))))) (S (S (S (S (S (S (S (S (S (S (S (S
-      (S O))))))))))))) (String ((Ascii (false, true, false, false, false,
-      false, true, false)), (String ((Ascii (false, false, true, true, false,
-      true, true, false)), (String ((Ascii (true, true, true, true, false,
-      true, true, false)), (String ((Ascii (true, true, false, false, false,
-      true, true, false)), (String ((Ascii (true, true, false, true, false,
-      true, true, false)), (String ((Ascii (true, true, false, false, false,
-      false, true, false)), (String ((Ascii (true, true, true, true, false,
-      true, true, false)), (String ((Ascii (true, false, true, false, true,
-      true, true, false)), (String ((Ascii (false, true, true, true, false,
-      true, true, false)), (String ((Ascii (false, false, true, false, true,
-      true, true, false)), EmptyString)))))))))))))))))))) ((String ((Ascii
-      (false, false, false, false, true, true, true, false)), (String ((Ascii
-      (true, false, false, false, false, true, true, false)), (String ((Ascii
-      (false, true, false, false, true, true, true, false)), (String ((Ascii
-      (true, true, false, false, true, true, true, false)), (String ((Ascii
-      (true, false, true, false, false, true, true, false)), (String ((Ascii
-      (false, true, true, true, false, false, true, false)), (String ((Ascii
-      (true, false, true, false, true, true, true, false)), (String ((Ascii
-      (true, false, true, true, false, true, true, false)), (String ((Ascii
-      (false, true, true, false, false, false, true, false)), (String ((Ascii
-      (true, false, false, true, false, true, true, false)), (String ((Ascii
-      (true, false, true, false, false, true, true, false)), (String ((Ascii
-      (false, false, true, true, false, true, true, false)), (String ((Ascii
-      (false, false, true, false, false, true, true, false)),
-      EmptyString)))))))))))))))))))))))))) :: [])) :: ((mkcut (S (S (S (S (S
-                                                          (S (S (S (S (S (S
-                                                          (S (S
-                                                          O))))))))))))) (S
-                                                          (S (S (S (S (S (S
-                                                          (S (S (S (S (S (S
-                                                          (S (S (S (S (S (S
-                                                          (S (S
-                                                          O)))))))))))))))))))))
-                                                          (String ((Ascii
-                                                          (true, false, true,
-                                                          false, false,
-                                                          false, true,
-                                                          false)), (String
-                                                          ((Ascii (false,
-                                                          true, true, true,
-                                                          false, true, true,
-                                                          false)), (String
-                                                          ((Ascii (false,
-                                                          false, true, false,
-                                                          true, true, true,
-                                                          false)), (String
-                                                          ((Ascii (false,
-                                                          true, false, false,
-                                                          true, true, true,
-                                                          false)), (String
-                                                          ((Ascii (true,
-                                                          false, false, true,
-                                                          true, true, true,
-                                                          false)), (String
-                                                          ((Ascii (true,
-                                                          false, false,
-                                                          false, false,
-                                                          false, true,
-                                                          false)), (String
-                                                          ((Ascii (false,
-                                                          false, true, false,
-                                                          false, true, true,
-                                                          false)), (String
-                                                          ((Ascii (false,
-                                                          false, true, false,
-                                                          false, true, true,
-                                                          false)), (String
-                                                          ((Ascii (true,
-                                                          false, true, false,
-                                                          false, true, true,
-                                                          false)), (String
-                                                          ((Ascii (false,
-                                                          true, true, true,
-                                                          false, true, true,
-                                                          false)), (String
-                                                          ((Ascii (false,
-                                                          false, true, false,
-                                                          false, true, true,
-                                                          false)), (String
-                                                          ((Ascii (true,
-                                                          false, false,
-                                                          false, false, true,
-                                                          true, false)),
-                                                          (String ((Ascii
-                                                          (true, true, false,
-                                                          false, false,
-                                                          false, true,
-                                                          false)), (String
-                                                          ((Ascii (true,
-                                                          true, true, true,
-                                                          false, true, true,
-                                                          false)), (String
-                                                          ((Ascii (true,
-                                                          false, true, false,
-                                                          true, true, true,
-                                                          false)), (String
-                                                          ((Ascii (false,
-                                                          true, true, true,
-                                                          false, true, true,
-                                                          false)), (String
-                                                          ((Ascii (false,
-                                                          false, true, false,
-                                                          true, true, true,
-                                                          false)),
-                                                          EmptyString))))))))))))))))))))))))))))))))))
-                                                          ((String ((Ascii
-                                                          (false, false,
-                                                          false, false, true,
-                                                          true, true,
-                                                          false)), (String
-                                                          ((Ascii (true,
-                                                          false, false,
-                                                          false, false, true,
-                                                          true, false)),
-                                                          (String ((Ascii
-                                                          (false, true,
-                                                          false, false, true,
-                                                          true, true,
-                                                          false)), (String
-                                                          ((Ascii (true,
-                                                          true, false, false,
-                                                          true, true, true,
-                                                          false)), (String
-                                                          ((Ascii (true,
-                                                          false, true, false,
-                                                          false, true, true,
-                                                          false)), (String
-                                                          ((Ascii (false,
-                                                          true, true, true,
-                                                          false, false, true,
-                                                          false)), (String
-                                                          ((Ascii (true,
-                                                          false, true, false,
-                                                          true, true, true,
-                                                          false)), (String
-                                                          ((Ascii (true,
-                                                          false, true, true,
-                                                          false, true, true,
-                                                          false)), (String
-                                                          ((Ascii (false,
-                                                          true, true, false,
-                                                          false, false, true,
-                                                          false)), (String
-                                                          ((Ascii (true,
-                                                          false, false, true,
-                                                          false, true, true,
-                                                          false)), (String
-                                                          ((Ascii (true,
-                                                          false, true, false,
-                                                          false, true, true,
-                                                          false)), (String
-                                                          ((Ascii (false,
-                                                          false, true, true,
-                                                          false, true, true,
-                                                          false)), (String
-                                                          ((Ascii (false,
-                                                          false, true, false,
-                                                          false, true, true,
-                                                          false)),
-                                                          EmptyString)))))))))))))))))))))))))) :: [])) :: (
-    (mkcut (S (S (S (S (S (S (S (S (S (S (S (S (S (S (S (S (S (S (S (S (S
-      O))))))))))))))))))))) (S (S (S (S (S (S (S (S (S (S (S (S (S (S (S (S
-      (S (S (S (S (S (S (S (S (S (S (S (S (S (S (S
-      O))))))))))))))))))))))))))))))) (String ((Ascii (true, false, true,
-      false, false, false, true, false)), (String ((Ascii (false, true, true,
-      true, false, true, true, false)), (String ((Ascii (false, false, true,
-      false, true, true, true, false)), (String ((Ascii (false, true, false,
-      false, true, true, true, false)), (String ((Ascii (true, false, false,
-      true, true, true, true, false)), (String ((Ascii (false, false, false,
-      true, false, false, true, false)), (String ((Ascii (true, false, false,
-      false, false, true, true, false)), (String ((Ascii (true, true, false,
-      false, true, true, true, false)), (String ((Ascii (false, false, false,
-      true, false, true, true, false)), EmptyString))))))))))))))))))
-      ((String ((Ascii (false, false, false, false, true, true, true,
-      false)), (String ((Ascii (true, false, false, false, false, true, true,
-      false)), (String ((Ascii (false, true, false, false, true, true, true,
-      false)), (String ((Ascii (true, true, false, false, true, true, true,
-      false)), (String ((Ascii (true, false, true, false, false, true, true,
-      false)), (String ((Ascii (false, true, true, true, false, false, true,
-      false)), (String ((Ascii (true, false, true, false, true, true, true,
-      false)), (String ((Ascii (true, false, true, true, false, true, true,
-      false)), (String ((Ascii (false, true, true, false, false, false, true,
-      false)), (String ((Ascii (true, false, false, true, false, true, true,
-      false)), (String ((Ascii (true, false, true, false, false, true, true,
-      false)), (String ((Ascii (false, false, true, true, false, true, true,
-      false)), (String ((Ascii (false, false, true, false, false, true, true,
-      false)), EmptyString)))))))))))))))))))))))))) :: [])) :: ((mkcut (S (S
-                                                                   (S (S (S
-                                                                   (S (S (S
-                                                                   (S (S (S
-                                                                   (S (S (S
-                                                                   (S (S (S
-                                                                   (S (S (S
-                                                                   (S (S (S
-                                                                   (S (S (S
-                                                                   (S (S (S
-                                                                   (S (S
-                                                                   O)))))))))))))))))))))))))))))))
-                                                                   (S (S (S
-                                                                   (S (S (S
-                                                                   (S (S (S
-                                                                   (S (S (S
-                                                                   (S (S (S
-                                                                   (S (S (S
-                                                                   (S (S (S
-                                                                   (S (S (S
-                                                                   (S (S (S
-                                                                   (S (S (S
-                                                                   (S (S (S
-                                                                   (S (S (S
-                                                                   (S (S (S
-                                                                   (S (S (S
-                                                                   (S
-                                                                   O)))))))))))))))))))))))))))))))))))))))))))
-                                                                   (String
-                                                                   ((Ascii
-                                                                   (false,
-                                                                   false,
-                                                                   true,
-                                                                   false,
-                                                                   true,
-                                                                   false,
-                                                                   true,
-                                                                   false)),
-                                                                   (String
-                                                                   ((Ascii
-                                                                   (true,
-                                                                   true,
-                                                                   true,
-                                                                   true,
-                                                                   false,
-                                                                   true,
-                                                                   true,
-                                                                   false)),
-                                                                   (String
-                                                                   ((Ascii
-                                                                   (false,
-                                                                   false,
-                                                                   true,
-                                                                   false,
-                                                                   true,
-                                                                   true,
-                                                                   true,
-                                                                   false)),
-                                                                   (String
-                                                                   ((Ascii
-                                                                   (true,
-                                                                   false,
-                                                                   false,
-                                                                   false,
-                                                                   false,
-                                                                   true,
-                                                                   true,
-                                                                   false)),
-                                                                   (String
-                                                                   ((Ascii
-                                                                   (false,
-                                                                   false,
-                                                                   true,
-                                                                   true,
-                                                                   false,
-                                                                   true,
-                                                                   true,
-                                                                   false)),
-                                                                   (String
-                                                                   ((Ascii
-                                                                   (false,
-                                                                   false,
-                                                                   true,
-                                                                   false,
-                                                                   false,
-                                                                   false,
-                                                                   true,
-                                                                   false)),
-                                                                   (String
-                                                                   ((Ascii
-                                                                   (true,
-                                                                   false,
-                                                                   true,
-                                                                   false,
-                                                                   false,
-                                                                   true,
-                                                                   true,
-                                                                   false)),
-                                                                   (String
-                                                                   ((Ascii
-                                                                   (false,
-                                                                   true,
-                                                                   false,
-                                                                   false,
-                                                                   false,
-                                                                   true,
-                                                                   true,
-                                                                   false)),
-                                                                   (String
-                                                                   ((Ascii
-                                                                   (true,
-                                                                   false,
-                                                                   false,
-                                                                   true,
-                                                                   false,
-                                                                   true,
-                                                                   true,
-                                                                   false)),
-                                                                   (String
-                                                                   ((Ascii
-                                                                   (false,
-                                                                   false,
-                                                                   true,
-                                                                   false,
-                                                                   true,
-                                                                   true,
-                                                                   true,
-                                                                   false)),
-                                                                   (String
-                                                                   ((Ascii
-                                                                   (true,
-                                                                   false,
-                                                                   true,
-                                                                   false,
-                                                                   false,
-                                                                   false,
-                                                                   true,
-                                                                   false)),
-                                                                   (String
-                                                                   ((Ascii
-                                                                   (false,
-                                                                   true,
-                                                                   true,
-                                                                   true,
-                                                                   false,
-                                                                   true,
-                                                                   true,
-                                                                   false)),
-                                                                   (String
-                                                                   ((Ascii
-                                                                   (false,
-                                                                   false,
-                                                                   true,
-                                                                   false,
-                                                                   true,
-                                                                   true,
-                                                                   true,
-                                                                   false)),
-                                                                   (String
-                                                                   ((Ascii
-                                                                   (false,
-                                                                   true,
-                                                                   false,
-                                                                   false,
-                                                                   true,
-                                                                   true,
-                                                                   true,
-                                                                   false)),
-                                                                   (String
-                                                                   ((Ascii
-                                                                   (true,
-                                                                   false,
-                                                                   false,
-                                                                   true,
-                                                                   true,
-                                                                   true,
-                                                                   true,
-                                                                   false)),
-                                                                   (String
-                                                                   ((Ascii
-                                                                   (false,
-                                                                   false,
-                                                                   true,
-                                                                   false,
-                                                                   false,
-                                                                   false,
-                                                                   true,
-                                                                   false)),
-                                                                   (String
-                                                                   ((Ascii
-                                                                   (true,
-                                                                   true,
-                                                                   true,
-                                                                   true,
-                                                                   false,
-                                                                   true,
-                                                                   true,
-                                                                   false)),
-                                                                   (String
-                                                                   ((Ascii
-                                                                   (false,
-                                                                   false,
-                                                                   true,
-                                                                   true,
-                                                                   false,
-                                                                   true,
-                                                                   true,
-                                                                   false)),
-                                                                   (String
-                                                                   ((Ascii
-                                                                   (false,
-                                                                   false,
-                                                                   true,
-                                                                   true,
-                                                                   false,
-                                                                   true,
-                                                                   true,
-                                                                   false)),
-                                                                   (String
-                                                                   ((Ascii
-                                                                   (true,
-                                                                   false,
-                                                                   false,
-                                                                   false,
-                                                                   false,
-                                                                   true,
-                                                                   true,
-                                                                   false)),
-                                                                   (String
-                                                                   ((Ascii
-                                                                   (false,
-                                                                   true,
-                                                                   false,
-                                                                   false,
-                                                                   true,
-                                                                   true,
-                                                                   true,
-                                                                   false)),
-                                                                   (String
-                                                                   ((Ascii
-                                                                   (true,
-                                                                   false,
-                                                                   false,
-                                                                   false,
-                                                                   false,
-                                                                   false,
-                                                                   true,
-                                                                   false)),
-                                                                   (String
-                                                                   ((Ascii
-                                                                   (true,
-                                                                   false,
-                                                                   true,
-                                                                   true,
-                                                                   false,
-                                                                   true,
-                                                                   true,
-                                                                   false)),
-                                                                   (String
-                                                                   ((Ascii
-                                                                   (true,
-                                                                   true,
-                                                                   true,
-                                                                   true,
-                                                                   false,
-                                                                   true,
-                                                                   true,
-                                                                   false)),
-                                                                   (String
-                                                                   ((Ascii
-                                                                   (true,
-                                                                   false,
-                                                                   true,
-                                                                   false,
-                                                                   true,
-                                                                   true,
-                                                                   true,
-                                                                   false)),
-                                                                   (String
-                                                                   ((Ascii
-                                                                   (false,
-                                                                   true,
-                                                                   true,
-                                                                   true,
-                                                                   false,
-                                                                   true,
-                                                                   true,
-                                                                   false)),
-                                                                   (String
-                                                                   ((Ascii
-                                                                   (false,
-                                                                   false,
-                                                                   true,
-                                                                   false,
-                                                                   true,
-                                                                   true,
-                                                                   true,
-                                                                   false)),
-                                                                   (String
-                                                                   ((Ascii
-                                                                   (true,
-                                                                   false,
-                                                                   false,
-                                                                   true,
-                                                                   false,
-                                                                   false,
-                                                                   true,
-                                                                   false)),
-                                                                   (String
-                                                                   ((Ascii
-                                                                   (false,
-                                                                   true,
-                                                                   true,
-                                                                   true,
-                                                                   false,
-                                                                   true,
-                                                                   true,
-                                                                   false)),
-                                                                   (String
-                                                                   ((Ascii
-                                                                   (false,
-                                                                   true,
-                                                                   true,
-                                                                   false,
-                                                                   false,
-                                                                   false,
-                                                                   true,
-                                                                   false)),
-                                                                   (String
-                                                                   ((Ascii
-                                                                   (true,
-                                                                   false,
-                                                                   false,
-                                                                   true,
-                                                                   false,
-                                                                   true,
-                                                                   true,
-                                                                   false)),
-                                                                   (String
-                                                                   ((Ascii
-                                                                   (false,
-                                                                   false,
-                                                                   true,
-                                                                   true,
-                                                                   false,
-                                                                   true,
-                                                                   true,
-                                                                   false)),
-                                                                   (String
-                                                                   ((Ascii
-                                                                   (true,
-                                                                   false,
-                                                                   true,
-                                                                   false,
-                                                                   false,
-                                                                   true,
-                                                                   true,
-                                                                   false)),
-                                                                   EmptyString))))))))))))))))))))))))))))))))))))))))))))))))))))))))))))))))))
-                                                                   ((String
-                                                                   ((Ascii
-                                                                   (false,
-                                                                   false,
-                                                                   false,
-                                                                   false,
-                                                                   true,
-                                                                   true,
-                                                                   true,
-                                                                   false)),
-                                                                   (String
-                                                                   ((Ascii
-                                                                   (true,
-                                                                   false,
-                                                                   false,
-                                                                   false,
-                                                                   false,
-                                                                   true,
-                                                                   true,
-                                                                   false)),
-                                                                   (String
-                                                                   ((Ascii
-                                                                   (false,
-                                                                   true,
-                                                                   false,
-                                                                   false,
-                                                                   true,
-                                                                   true,
-                                                                   true,
-                                                                   false)),
-                                                                   (String
-                                                                   ((Ascii
-                                                                   (true,
-                                                                   true,
-                                                                   false,
-                                                                   false,
-                                                                   true,
-                                                                   true,
-                                                                   true,
-                                                                   false)),
-                                                                   (String
-                                                                   ((Ascii
-                                                                   (true,
-                                                                   false,
-                                                                   true,
-                                                                   false,
-                                                                   false,
-                                                                   true,
-                                                                   true,
-                                                                   false)),
-                                                                   (String
-                                                                   ((Ascii
-                                                                   (false,
-                                                                   true,
-                                                                   true,
-                                                                   true,
-                                                                   false,
-                                                                   false,
-                                                                   true,
-                                                                   false)),
-                                                                   (String
-                                                                   ((Ascii
-                                                                   (true,
-                                                                   false,
-                                                                   true,
-                                                                   false,
-                                                                   true,
-                                                                   true,
-                                                                   true,
-                                                                   false)),
-                                                                   (String
-                                                                   ((Ascii
-                                                                   (true,
-                                                                   false,
-                                                                   true,
-                                                                   true,
-                                                                   false,
-                                                                   true,
-                                                                   true,
-                                                                   false)),
-                                                                   (String
-                                                                   ((Ascii
-                                                                   (false,
-                                                                   true,
-                                                                   true,
-                                                                   false,
-                                                                   false,
-                                                                   false,
-                                                                   true,
-                                                                   false)),
-                                                                   (String
-                                                                   ((Ascii
-                                                                   (true,
-                                                                   false,
-                                                                   false,
-                                                                   true,
-                                                                   false,
-                                                                   true,
-                                                                   true,
-                                                                   false)),
-                                                                   (String
-                                                                   ((Ascii
-                                                                   (true,
-                                                                   false,
-                                                                   true,
-                                                                   false,
-                                                                   false,
-                                                                   true,
-                                                                   true,
-                                                                   false)),
-                                                                   (String
-                                                                   ((Ascii
-                                                                   (false,
-                                                                   false,
-                                                                   true,
-                                                                   true,
-                                                                   false,
-                                                                   true,
-                                                                   true,
-                                                                   false)),
-                                                                   (String
-                                                                   ((Ascii
-                                                                   (false,
-                                                                   false,
-                                                                   true,
-                                                                   false,
-                                                                   false,
-                                                                   true,
-                                                                   true,
-                                                                   false)),
-                                                                   EmptyString)))))))))))))))))))))))))) :: [])) :: (
-    (mkcut (S (S (S (S (S (S (S (S (S (S (S (S (S (S (S (S (S (S (S (S (S (S
-      (S (S (S (S (S (S (S (S (S (S (S (S (S (S (S (S (S (S (S (S (S
-      O))))))))))))))))))))))))))))))))))))))))))) (S (S (S (S (S (S (S (S (S
-      (S (S (S (S (S (S (S (S (S (S (S (S (S (S (S (S (S (S (S (S (S (S (S (S
-      (S (S (S (S (S (S (S (S (S (S (S (S (S (S (S (S (S (S (S (S (S (S
-      O))))))))))))))))))))))))))))))))))))))))))))))))))))))) (String
-      ((Ascii (false, false, true, false, true, false, true, false)), (String
-      ((Ascii (true, true, true, true, false, true, true, false)), (String
-      ((Ascii (false, false, true, false, true, true, true, false)), (String
-      ((Ascii (true, false, false, false, false, true, true, false)), (String
-      ((Ascii (false, false, true, true, false, true, true, false)), (String
-      ((Ascii (true, true, false, false, false, false, true, false)), (String
-      ((Ascii (false, true, false, false, true, true, true, false)), (String
-      ((Ascii (true, false, true, false, false, true, true, false)), (String
-      ((Ascii (false, false, true, false, false, true, true, false)), (String
-      ((Ascii (true, false, false, true, false, true, true, false)), (String
-      ((Ascii (false, false, true, false, true, true, true, false)), (String
-      ((Ascii (true, false, true, false, false, false, true, false)), (String
-      ((Ascii (false, true, true, true, false, true, true, false)), (String
-      ((Ascii (false, false, true, false, true, true, true, false)), (String
-      ((Ascii (false, true, false, false, true, true, true, false)), (String
-      ((Ascii (true, false, false, true, true, true, true, false)), (String
-      ((Ascii (false, false, true, false, false, false, true, false)),
-      (String ((Ascii (true, true, true, true, false, true, true, false)),
-      (String ((Ascii (false, false, true, true, false, true, true, false)),
-      (String ((Ascii (false, false, true, true, false, true, true, false)),
-      (String ((Ascii (true, false, false, false, false, true, true, false)),
-      (String ((Ascii (false, true, false, false, true, true, true, false)),
-      (String ((Ascii (true, false, false, false, false, false, true,
-      false)), (String ((Ascii (true, false, true, true, false, true, true,
-      false)), (String ((Ascii (true, true, true, true, false, true, true,
-      false)), (String ((Ascii (true, false, true, false, true, true, true,
-      false)), (String ((Ascii (false, true, true, true, false, true, true,
-      false)), (String ((Ascii (false, false, true, false, true, true, true,
-      false)), (String ((Ascii (true, false, false, true, false, false, true,
-      false)), (String ((Ascii (false, true, true, true, false, true, true,
-      false)), (String ((Ascii (false, true, true, false, false, false, true,
-      false)), (String ((Ascii (true, false, false, true, false, true, true,
-      false)), (String ((Ascii (false, false, true, true, false, true, true,
-      false)), (String ((Ascii (true, false, true, false, false, true, true,
-      false)),
-      EmptyString))))))))))))))))))))))))))))))))))))))))))))))))))))))))))))))))))))
-      ((String ((Ascii (false, false, false, false, true, true, true,
-      false)), (String ((Ascii (true, false, false, false, false, true, true,
-      false)), (String ((Ascii (false, true, false, false, true, true, true,
-      false)), (String ((Ascii (true, true, false, false, true, true, true,
-      false)), (String ((Ascii (true, false, true, false, false, true, true,
-      false)), (String ((Ascii (false, true, true, true, false, false, true,
-      false)), (String ((Ascii (true, false, true, false, true, true, true,
-      false)), (String ((Ascii (true, false, true, true, false, true, true,
-      false)), (String ((Ascii (false, true, true, false, false, false, true,
-      false)), (String ((Ascii (true, false, false, true, false, true, true,
-      false)), (String ((Ascii (true, false, true, false, false, true, true,
-      false)), (String ((Ascii (false, false, true, true, false, true, true,
-      false)), (String ((Ascii (false, false, true, false, false, true, true,
-      false)), EmptyString)))))))))))))))))))))))))) :: [])) :: ((mkcut (S (S
-                                                                   (S (S (S
-                                                                   (S (S (S
-                                                                   (S (S (S
-                                                                   (S (S (S
-                                                                   (S (S (S
-                                                                   (S (S (S
-                                                                   (S (S (S
-                                                                   (S (S (S
-                                                                   (S (S (S
-                                                                   (S (S (S
-                                                                   (S (S (S
-                                                                   (S (S (S
-                                                                   (S (S (S
-                                                                   (S (S (S
-                                                                   (S (S (S
-                                                                   (S (S (S
-                                                                   (S (S (S
-                                                                   (S (S
-                                                                   O)))))))))))))))))))))))))))))))))))))))))))))))))))))))
-                                                                   (S (S (S
-                                                                   (S (S (S
-                                                                   (S (S (S
-                                                                   (S (S (S
-                                                                   (S (S (S
-                                                                   (S (S (S
-                                                                   (S (S (S
-                                                                   (S (S (S
-                                                                   (S (S (S
-                                                                   (S (S (S
-                                                                   (S (S (S
-                                                                   (S (S (S
-                                                                   (S (S (S
-                                                                   (S (S (S
-                                                                   (S (S (S
-                                                                   (S (S (S
-                                                                   (S (S (S
-                                                                   (S (S (S
-                                                                   (S (S (S
-                                                                   (S (S (S
-                                                                   (S (S (S
-                                                                   (S (S (S
-                                                                   (S (S (S
-                                                                   (S (S (S
-                                                                   (S (S (S
-                                                                   (S (S (S
-                                                                   (S (S (S
-                                                                   (S (S (S
-                                                                   (S (S (S
-                                                                   (S (S (S
-                                                                   (S (S (S
-                                                                   (S
-                                                                   O))))))))))))))))))))))))))))))))))))))))))))))))))))))))))))))))))))))))))))))))))))))))))))))
-                                                                   EmptyString
-                                                                   []) :: [])))))))) }
-
-(** val l_FileHeader : layout **)
-
-let l_FileHeader =
-  { l_name = (String ((Ascii (false, true, true, false, false, false, true,
-    false)), (String ((Ascii (true, false, false, true, false, true, true,
-    false)), (String ((Ascii (false, false, true, true, false, true, true,
-    false)), (String ((Ascii (true, false, true, false, false, true, true,
-    false)), (String ((Ascii (false, false, false, true, false, false, true,
-    false)), (String ((Ascii (true, false, true, false, false, true, true,
-    false)), (String ((Ascii (true, false, false, false, false, true, true,
-    false)), (String ((Ascii (false, false, true, false, false, true, true,
-    false)), (String ((Ascii (true, false, true, false, false, true, true,
-    false)), (String ((Ascii (false, true, false, false, true, true, true,
-    false)), EmptyString)))))))))))))))))))); l_ix = IRune; l_segs = ((SLit
-    ((Npos (XI (XO (XO (XO (XI XH)))))) :: [])) :: ((SRaw (String ((Ascii
-    (false, false, false, false, true, true, true, false)), (String ((Ascii
-    (false, true, false, false, true, true, true, false)), (String ((Ascii
-    (true, false, false, true, false, true, true, false)), (String ((Ascii
-    (true, true, true, true, false, true, true, false)), (String ((Ascii
-    (false, true, false, false, true, true, true, false)), (String ((Ascii
-    (true, false, false, true, false, true, true, false)), (String ((Ascii
-    (false, false, true, false, true, true, true, false)), (String ((Ascii
-    (true, false, false, true, true, true, true, false)), (String ((Ascii
-    (true, true, false, false, false, false, true, false)), (String ((Ascii
-    (true, true, true, true, false, true, true, false)), (String ((Ascii
-    (false, false, true, false, false, true, true, false)), (String ((Ascii
-    (true, false, true, false, false, true, true, false)),
-    EmptyString))))))))))))))))))))))))) :: ((SCustom ((String ((Ascii
-    (false, true, true, false, false, false, true, false)), (String ((Ascii
-    (true, false, false, true, false, true, true, false)), (String ((Ascii
-    (false, false, true, true, false, true, true, false)), (String ((Ascii
-    (true, false, true, false, false, true, true, false)), (String ((Ascii
-    (false, false, false, true, false, false, true, false)), (String ((Ascii
-    (true, false, true, false, false, true, true, false)), (String ((Ascii
-    (true, false, false, false, false, true, true, false)), (String ((Ascii
-    (false, false, true, false, false, true, true, false)), (String ((Ascii
-    (true, false, true, false, false, true, true, false)), (String ((Ascii
-    (false, true, false, false, true, true, true, false)), (String ((Ascii
-    (false, true, true, true, false, true, false, false)), (String ((Ascii
-    (true, false, false, true, false, false, true, false)), (String ((Ascii
-    (true, false, true, true, false, true, true, false)), (String ((Ascii
-    (true, false, true, true, false, true, true, false)), (String ((Ascii
-    (true, false, true, false, false, true, true, false)), (String ((Ascii
-    (false, false, true, false, false, true, true, false)), (String ((Ascii
-    (true, false, false, true, false, true, true, false)), (String ((Ascii
-    (true, false, false, false, false, true, true, false)), (String ((Ascii
-    (false, false, true, false, true, true, true, false)), (String ((Ascii
-    (true, false, true, false, false, true, true, false)), (String ((Ascii
-    (false, false, true, false, false, false, true, false)), (String ((Ascii
-    (true, false, true, false, false, true, true, false)), (String ((Ascii
-    (true, true, false, false, true, true, true, false)), (String ((Ascii
-    (false, false, true, false, true, true, true, false)), (String ((Ascii
-    (true, false, false, true, false, true, true, false)), (String ((Ascii
-    (false, true, true, true, false, true, true, false)), (String ((Ascii
-    (true, false, false, false, false, true, true, false)), (String ((Ascii
-    (false, false, true, false, true, true, true, false)), (String ((Ascii
-    (true, false, false, true, false, true, true, false)), (String ((Ascii
-    (true, true, true, true, false, true, true, false)), (String ((Ascii
-    (false, true, true, true, false, true, true, false)), (String ((Ascii
-    (false, true, true, false, false, false, true, false)), (String ((Ascii
-    (true, false, false, true, false, true, true, false)), (String ((Ascii
-    (true, false, true, false, false, true, true, false)), (String ((Ascii
-    (false, false, true, true, false, true, true, false)), (String ((Ascii
-    (false, false, true, false, false, true, true, false)),
-    EmptyString)))))))))))))))))))))))))))))))))))))))))))))))))))))))))))))))))))))))),
-    (String ((Ascii (true, true, true, false, true, true, false, false)),
-    (String ((Ascii (false, false, false, false, true, true, false, false)),
-    (String ((Ascii (true, true, false, false, false, true, true, false)),
-    (String ((Ascii (true, false, true, false, false, true, true, false)),
-    (String ((Ascii (true, false, true, false, false, true, true, false)),
-    (String ((Ascii (true, false, false, false, false, true, true, false)),
-    (String ((Ascii (false, true, false, false, false, true, true, false)),
-    (String ((Ascii (false, true, true, false, true, true, false, false)),
-    (String ((Ascii (false, true, true, false, false, true, true, false)),
-    (String ((Ascii (true, false, true, false, true, true, false, false)),
-    (String ((Ascii (false, true, true, false, false, true, true, false)),
-    (String ((Ascii (true, true, false, false, true, true, false, false)),
-    EmptyString)))))))))))))))))))))))))) :: ((SCustom ((String ((Ascii
-    (false, true, true, false, false, false, true, false)), (String ((Ascii
-    (true, false, false, true, false, true, true, false)), (String ((Ascii
-    (false, false, true, true, false, true, true, false)), (String ((Ascii
-    (true, false, true, false, false, true, true, false)), (String ((Ascii
-    (false, false, false, true, false, false, true, false)), (String ((Ascii
-    (true, false, true, false, false, true, true, false)), (String ((Ascii
-    (true, false, false, false, false, true, true, false)), (String ((Ascii
-    (false, false, true, false, false, true, true, false)), (String ((Ascii
-    (true, false, true, false, false, true, true, false)), (String ((Ascii
-    (false, true, false, false, true, true, true, false)), (String ((Ascii
-    (false, true, true, true, false, true, false, false)), (String ((Ascii
-    (true, false, false, true, false, false, true, false)), (String ((Ascii
-    (true, false, true, true, false, true, true, false)), (String ((Ascii
-    (true, false, true, true, false, true, true, false)), (String ((Ascii
-    (true, false, true, false, false, true, true, false)), (String ((Ascii
-    (false, false, true, false, false, true, true, false)), (String ((Ascii
-    (true, false, false, true, false, true, true, false)), (String ((Ascii
-    (true, false, false, false, false, true, true, false)), (String ((Ascii
-    (false, false, true, false, true, true, true, false)), (String ((Ascii
-    (true, false, true, false, false, true, true, false)), (String ((Ascii
-    (true, true, true, true, false, false, true, false)), (String ((Ascii
-    (false, true, false, false, true, true, true, false)), (String ((Ascii
-    (true, false, false, true, false, true, true, false)), (String ((Ascii
-    (true, true, true, false, false, true, true, false)), (String ((Ascii
-    (true, false, false, true, false, true, true, false)), (String ((Ascii
-    (false, true, true, true, false, true, true, false)), (String ((Ascii
-    (false, true, true, false, false, false, true, false)), (String ((Ascii
-    (true, false, false, true, false, true, true, false)), (String ((Ascii
-    (true, false, true, false, false, true, true, false)), (String ((Ascii
-    (false, false, true, true, false, true, true, false)), (String ((Ascii
-    (false, false, true, false, false, true, true, false)),
-    EmptyString)))))))))))))))))))))))))))))))))))))))))))))))))))))))))))))),
-    (String ((Ascii (true, false, false, false, true, true, false, false)),
-    (String ((Ascii (false, true, true, false, false, true, true, false)),
-    (String ((Ascii (false, false, false, false, true, true, false, false)),
-    (String ((Ascii (false, false, false, true, true, true, false, false)),
-    (String ((Ascii (false, false, false, false, true, true, false, false)),
-    (String ((Ascii (false, false, true, false, true, true, false, false)),
-    (String ((Ascii (false, true, false, false, false, true, true, false)),
-    (String ((Ascii (true, true, false, false, false, true, true, false)),
-    (String ((Ascii (false, true, false, false, false, true, true, false)),
-    (String ((Ascii (false, false, true, false, false, true, true, false)),
-    (String ((Ascii (true, false, false, false, false, true, true, false)),
-    (String ((Ascii (true, true, true, false, true, true, false, false)),
-    EmptyString)))))))))))))))))))))))))) :: ((SCustom ((String ((Ascii
-    (false, true, true, false, false, false, true, false)), (String ((Ascii
-    (true, false, false, true, false, true, true, false)), (String ((Ascii
-    (false, false, true, true, false, true, true, false)), (String ((Ascii
-    (true, false, true, false, false, true, true, false)), (String ((Ascii
-    (false, false, false, true, false, false, true, false)), (String ((Ascii
-    (true, false, true, false, false, true, true, false)), (String ((Ascii
-    (true, false, false, false, false, true, true, false)), (String ((Ascii
-    (false, false, true, false, false, true, true, false)), (String ((Ascii
-    (true, false, true, false, false, true, true, false)), (String ((Ascii
-    (false, true, false, false, true, true, true, false)), (String ((Ascii
-    (false, true, true, true, false, true, false, false)), (String ((Ascii
-    (false, true, true, false, false, false, true, false)), (String ((Ascii
-    (true, false, false, true, false, true, true, false)), (String ((Ascii
-    (false, false, true, true, false, true, true, false)), (String ((Ascii
-    (true, false, true, false, false, true, true, false)), (String ((Ascii
-    (true, true, false, false, false, false, true, false)), (String ((Ascii
-    (false, true, false, false, true, true, true, false)), (String ((Ascii
-    (true, false, true, false, false, true, true, false)), (String ((Ascii
-    (true, false, false, false, false, true, true, false)), (String ((Ascii
-    (false, false, true, false, true, true, true, false)), (String ((Ascii
-    (true, false, false, true, false, true, true, false)), (String ((Ascii
-    (true, true, true, true, false, true, true, false)), (String ((Ascii
-    (false, true, true, true, false, true, true, false)), (String ((Ascii
-    (false, false, true, false, false, false, true, false)), (String ((Ascii
-    (true, false, false, false, false, true, true, false)), (String ((Ascii
-    (false, false, true, false, true, true, true, false)), (String ((Ascii
-    (true, false, true, false, false, true, true, false)), (String ((Ascii
-    (false, true, true, false, false, false, true, false)), (String ((Ascii
-    (true, false, false, true, false, true, true, false)), (String ((Ascii
-    (true, false, true, false, false, true, true, false)), (String ((Ascii
-    (false, false, true, true, false, true, true, false)), (String ((Ascii
-    (false, false, true, false, false, true, true, false)),
-    EmptyString)))))))))))))))))))))))))))))))))))))))))))))))))))))))))))))))),
-    (String ((Ascii (true, false, false, false, true, true, false, false)),
-    (String ((Ascii (true, false, true, false, true, true, false, false)),
-    (String ((Ascii (true, true, false, false, false, true, true, false)),
-    (String ((Ascii (false, false, true, false, true, true, false, false)),
-    (String ((Ascii (true, true, true, false, true, true, false, false)),
-    (String ((Ascii (true, false, true, false, true, true, false, false)),
-    (String ((Ascii (true, true, false, false, false, true, true, false)),
-    (String ((Ascii (false, false, true, false, false, true, true, false)),
-    (String ((Ascii (true, false, false, false, false, true, true, false)),
-    (String ((Ascii (true, true, false, false, false, true, true, false)),
-    (String ((Ascii (false, true, false, false, false, true, true, false)),
-    (String ((Ascii (false, false, false, false, true, true, false, false)),
-    EmptyString)))))))))))))))))))))))))) :: ((SCustom ((String ((Ascii
-    (false, true, true, false, false, false, true, false)), (String ((Ascii
-    (true, false, false, true, false, true, true, false)), (String ((Ascii
-    (false, false, true, true, false, true, true, false)), (String ((Ascii
-    (true, false, true, false, false, true, true, false)), (String ((Ascii
-    (false, false, false, true, false, false, true, false)), (String ((Ascii
-    (true, false, true, false, false, true, true, false)), (String ((Ascii
-    (true, false, false, false, false, true, true, false)), (String ((Ascii
-    (false, false, true, false, false, true, true, false)), (String ((Ascii
-    (true, false, true, false, false, true, true, false)), (String ((Ascii
-    (false, true, false, false, true, true, true, false)), (String ((Ascii
-    (false, true, true, true, false, true, false, false)), (String ((Ascii
-    (false, true, true, false, false, false, true, false)), (String ((Ascii
-    (true, false, false, true, false, true, true, false)), (String ((Ascii
-    (false, false, true, true, false, true, true, false)), (String ((Ascii
-    (true, false, true, false, false, true, true, false)), (String ((Ascii
-    (true, true, false, false, false, false, true, false)), (String ((Ascii
-    (false, true, false, false, true, true, true, false)), (String ((Ascii
-    (true, false, true, false, false, true, true, false)), (String ((Ascii
-    (true, false, false, false, false, true, true, false)), (String ((Ascii
-    (false, false, true, false, true, true, true, false)), (String ((Ascii
-    (true, false, false, true, false, true, true, false)), (String ((Ascii
-    (true, true, true, true, false, true, true, false)), (String ((Ascii
-    (false, true, true, true, false, true, true, false)), (String ((Ascii
-    (false, false, true, false, true, false, true, false)), (String ((Ascii
-    (true, false, false, true, false, true, true, false)), (String ((Ascii
-    (true, false, true, true, false, true, true, false)), (String ((Ascii
-    (true, false, true, false, false, true, true, false)), (String ((Ascii
-    (false, true, true, false, false, false, true, false)), (String ((Ascii
-    (true, false, false, true, false, true, true, false)), (String ((Ascii
-    (true, false, true, false, false, true, true, false)), (String ((Ascii
-    (false, false, true, true, false, true, true, false)), (String ((Ascii
-    (false, false, true, false, false, true, true, false)),
-    EmptyString)))))))))))))))))))))))))))))))))))))))))))))))))))))))))))))))),
-    (String ((Ascii (true, false, false, true, true, true, false, false)),
-    (String ((Ascii (false, true, true, false, true, true, false, false)),
-    (String ((Ascii (false, true, true, false, false, true, true, false)),
-    (String ((Ascii (true, true, false, false, false, true, true, false)),
-    (String ((Ascii (true, true, true, false, true, true, false, false)),
-    (String ((Ascii (true, true, false, false, true, true, false, false)),
-    (String ((Ascii (true, false, true, false, false, true, true, false)),
-    (String ((Ascii (false, true, false, false, true, true, false, false)),
-    (String ((Ascii (false, false, true, false, true, true, false, false)),
-    (String ((Ascii (true, false, false, true, true, true, false, false)),
-    (String ((Ascii (true, false, false, false, false, true, true, false)),
-    (String ((Ascii (false, false, true, false, true, true, false, false)),
-    EmptyString)))))))))))))))))))))))))) :: ((SRaw (String ((Ascii (false,
-    true, true, false, false, false, true, false)), (String ((Ascii (true,
-    false, false, true, false, true, true, false)), (String ((Ascii (false,
-    false, true, true, false, true, true, false)), (String ((Ascii (true,
-    false, true, false, false, true, true, false)), (String ((Ascii (true,
-    false, false, true, false, false, true, false)), (String ((Ascii (false,
-    false, true, false, false, false, true, false)), (String ((Ascii (true,
-    false, true, true, false, false, true, false)), (String ((Ascii (true,
-    true, true, true, false, true, true, false)), (String ((Ascii (false,
-    false, true, false, false, true, true, false)), (String ((Ascii (true,
-    false, false, true, false, true, true, false)), (String ((Ascii (false,
-    true, true, false, false, true, true, false)), (String ((Ascii (true,
-    false, false, true, false, true, true, false)), (String ((Ascii (true,
-    false, true, false, false, true, true, false)), (String ((Ascii (false,
-    true, false, false, true, true, true, false)),
-    EmptyString))))))))))))))))))))))))))))) :: ((SRaw (String ((Ascii
-    (false, true, false, false, true, true, true, false)), (String ((Ascii
-    (true, false, true, false, false, true, true, false)), (String ((Ascii
-    (true, true, false, false, false, true, true, false)), (String ((Ascii
-    (true, true, true, true, false, true, true, false)), (String ((Ascii
-    (false, true, false, false, true, true, true, false)), (String ((Ascii
-    (false, false, true, false, false, true, true, false)), (String ((Ascii
-    (true, true, false, false, true, false, true, false)), (String ((Ascii
-    (true, false, false, true, false, true, true, false)), (String ((Ascii
-    (false, true, false, true, true, true, true, false)), (String ((Ascii
-    (true, false, true, false, false, true, true, false)),
-    EmptyString))))))))))))))))))))) :: ((SRaw (String ((Ascii (false, true,
-    false, false, false, true, true, false)), (String ((Ascii (false, false,
-    true, true, false, true, true, false)), (String ((Ascii (true, true,
-    true, true, false, true, true, false)), (String ((Ascii (true, true,
-    false, false, false, true, true, false)), (String ((Ascii (true, true,
-    false, true, false, true, true, false)), (String ((Ascii (true, false,
-    false, true, false, true, true, false)), (String ((Ascii (false, true,
-    true, true, false, true, true, false)), (String ((Ascii (true, true,
-    true, false, false, true, true, false)), (String ((Ascii (false, true,
-    true, false, false, false, true, false)), (String ((Ascii (true, false,
-    false, false, false, true, true, false)), (String ((Ascii (true, true,
-    false, false, false, true, true, false)), (String ((Ascii (false, false,
-    true, false, true, true, true, false)), (String ((Ascii (true, true,
-    true, true, false, true, true, false)), (String ((Ascii (false, true,
-    false, false, true, true, true, false)),
-    EmptyString))))))))))))))))))))))))))))) :: ((SRaw (String ((Ascii
-    (false, true, true, false, false, true, true, false)), (String ((Ascii
-    (true, true, true, true, false, true, true, false)), (String ((Ascii
-    (false, true, false, false, true, true, true, false)), (String ((Ascii
-    (true, false, true, true, false, true, true, false)), (String ((Ascii
-    (true, false, false, false, false, true, true, false)), (String ((Ascii
-    (false, false, true, false, true, true, true, false)), (String ((Ascii
-    (true, true, false, false, false, false, true, false)), (String ((Ascii
-    (true, true, true, true, false, true, true, false)), (String ((Ascii
-    (false, false, true, false, false, true, true, false)), (String ((Ascii
-    (true, false, true, false, false, true, true, false)),
-    EmptyString))))))))))))))))))))) :: ((SAlpha ((String ((Ascii (true,
-    false, false, true, false, false, true, false)), (String ((Ascii (true,
-    false, true, true, false, true, true, false)), (String ((Ascii (true,
-    false, true, true, false, true, true, false)), (String ((Ascii (true,
-    false, true, false, false, true, true, false)), (String ((Ascii (false,
-    false, true, false, false, true, true, false)), (String ((Ascii (true,
-    false, false, true, false, true, true, false)), (String ((Ascii (true,
-    false, false, false, false, true, true, false)), (String ((Ascii (false,
-    false, true, false, true, true, true, false)), (String ((Ascii (true,
-    false, true, false, false, true, true, false)), (String ((Ascii (false,
-    false, true, false, false, false, true, false)), (String ((Ascii (true,
-    false, true, false, false, true, true, false)), (String ((Ascii (true,
-    true, false, false, true, true, true, false)), (String ((Ascii (false,
-    false, true, false, true, true, true, false)), (String ((Ascii (true,
-    false, false, true, false, true, true, false)), (String ((Ascii (false,
-    true, true, true, false, true, true, false)), (String ((Ascii (true,
-    false, false, false, false, true, true, false)), (String ((Ascii (false,
-    false, true, false, true, true, true, false)), (String ((Ascii (true,
-    false, false, true, false, true, true, false)), (String ((Ascii (true,
-    true, true, true, false, true, true, false)), (String ((Ascii (false,
-    true, true, true, false, true, true, false)), (String ((Ascii (false,
-    true, true, true, false, false, true, false)), (String ((Ascii (true,
-    false, false, false, false, true, true, false)), (String ((Ascii (true,
-    false, true, true, false, true, true, false)), (String ((Ascii (true,
-    false, true, false, false, true, true, false)),
-    EmptyString)))))))))))))))))))))))))))))))))))))))))))))))), (S (S (S (S
-    (S (S (S (S (S (S (S (S (S (S (S (S (S (S (S (S (S (S (S
-    O))))))))))))))))))))))))) :: ((SAlpha ((String ((Ascii (true, false,
-    false, true, false, false, true, false)), (String ((Ascii (true, false,
-    true, true, false, true, true, false)), (String ((Ascii (true, false,
-    true, true, false, true, true, false)), (String ((Ascii (true, false,
-    true, false, false, true, true, false)), (String ((Ascii (false, false,
-    true, false, false, true, true, false)), (String ((Ascii (true, false,
-    false, true, false, true, true, false)), (String ((Ascii (true, false,
-    false, false, false, true, true, false)), (String ((Ascii (false, false,
-    true, false, true, true, true, false)), (String ((Ascii (true, false,
-    true, false, false, true, true, false)), (String ((Ascii (true, true,
-    true, true, false, false, true, false)), (String ((Ascii (false, true,
-    false, false, true, true, true, false)), (String ((Ascii (true, false,
-    false, true, false, true, true, false)), (String ((Ascii (true, true,
-    true, false, false, true, true, false)), (String ((Ascii (true, false,
-    false, true, false, true, true, false)), (String ((Ascii (false, true,
-    true, true, false, true, true, false)), (String ((Ascii (false, true,
-    true, true, false, false, true, false)), (String ((Ascii (true, false,
-    false, false, false, true, true, false)), (String ((Ascii (true, false,
-    true, true, false, true, true, false)), (String ((Ascii (true, false,
-    true, false, false, true, true, false)),
-    EmptyString)))))))))))))))))))))))))))))))))))))), (S (S (S (S (S (S (S
-    (S (S (S (S (S (S (S (S (S (S (S (S (S (S (S (S
-    O))))))))))))))))))))))))) :: ((SAlpha ((String ((Ascii (false, true,
-    false, false, true, false, true, false)), (String ((Ascii (true, false,
-    true, false, false, true, true, false)), (String ((Ascii (false, true,
-    true, false, false, true, true, false)), (String ((Ascii (true, false,
-    true, false, false, true, true, false)), (String ((Ascii (false, true,
-    false, false, true, true, true, false)), (String ((Ascii (true, false,
-    true, false, false, true, true, false)), (String ((Ascii (false, true,
-    true, true, false, true, true, false)), (String ((Ascii (true, true,
-    false, false, false, true, true, false)), (String ((Ascii (true, false,
-    true, false, false, true, true, false)), (String ((Ascii (true, true,
-    false, false, false, false, true, false)), (String ((Ascii (true, true,
-    true, true, false, true, true, false)), (String ((Ascii (false, false,
-    true, false, false, true, true, false)), (String ((Ascii (true, false,
-    true, false, false, true, true, false)),
-    EmptyString)))))))))))))))))))))))))), (S (S (S (S (S (S (S (S
-    O)))))))))) :: []))))))))))))); l_cuts =
-    ((mkconst (String ((Ascii (false, false, false, false, true, true, true,
-       false)), (String ((Ascii (false, true, false, false, true, true, true,
-       false)), (String ((Ascii (true, false, false, true, false, true, true,
-       false)), (String ((Ascii (true, true, true, true, false, true, true,
-       false)), (String ((Ascii (false, true, false, false, true, true, true,
-       false)), (String ((Ascii (true, false, false, true, false, true, true,
-       false)), (String ((Ascii (false, false, true, false, true, true, true,
-       false)), (String ((Ascii (true, false, false, true, true, true, true,
-       false)), (String ((Ascii (true, true, false, false, false, false,
-       true, false)), (String ((Ascii (true, true, true, true, false, true,
-       true, false)), (String ((Ascii (false, false, true, false, false,
-       true, true, false)), (String ((Ascii (true, false, true, false, false,
-       true, true, false)), EmptyString)))))))))))))))))))))))) ((Npos (XO
-       (XO (XO (XO (XI XH)))))) :: ((Npos (XI (XO (XO (XO (XI
-       XH)))))) :: []))) :: ((mkcut (S (S (S O))) (S (S (S (S (S (S (S (S (S
-                               (S (S (S (S O))))))))))))) (String ((Ascii
-                               (true, false, false, true, false, false, true,
-                               false)), (String ((Ascii (true, false, true,
-                               true, false, true, true, false)), (String
-                               ((Ascii (true, false, true, true, false, true,
-                               true, false)), (String ((Ascii (true, false,
-                               true, false, false, true, true, false)),
-                               (String ((Ascii (false, false, true, false,
-                               false, true, true, false)), (String ((Ascii
-                               (true, false, false, true, false, true, true,
-                               false)), (String ((Ascii (true, false, false,
-                               false, false, true, true, false)), (String
-                               ((Ascii (false, false, true, false, true,
-                               true, true, false)), (String ((Ascii (true,
-                               false, true, false, false, true, true,
-                               false)), (String ((Ascii (false, false, true,
-                               false, false, false, true, false)), (String
-                               ((Ascii (true, false, true, false, false,
-                               true, true, false)), (String ((Ascii (true,
-                               true, false, false, true, true, true, false)),
-                               (String ((Ascii (false, false, true, false,
-                               true, true, true, false)), (String ((Ascii
-                               (true, false, false, true, false, true, true,
-                               false)), (String ((Ascii (false, true, true,
-                               true, false, true, true, false)), (String
-                               ((Ascii (true, false, false, false, false,
-                               true, true, false)), (String ((Ascii (false,
-                               false, true, false, true, true, true, false)),
-                               (String ((Ascii (true, false, false, true,
-                               false, true, true, false)), (String ((Ascii
-                               (true, true, true, true, false, true, true,
-                               false)), (String ((Ascii (false, true, true,
-                               true, false, true, true, false)),
-                               EmptyString))))))))))))))))))))))))))))))))))))))))
-                               ((String ((Ascii (false, false, true, false,
-                               true, true, true, false)), (String ((Ascii
-                               (false, true, false, false, true, true, true,
-                               false)), (String ((Ascii (true, false, false,
-                               true, false, true, true, false)), (String
-                               ((Ascii (true, false, true, true, false, true,
-                               true, false)), (String ((Ascii (false, true,
-                               false, false, true, false, true, false)),
-                               (String ((Ascii (true, true, true, true,
-                               false, true, true, false)), (String ((Ascii
-                               (true, false, true, false, true, true, true,
-                               false)), (String ((Ascii (false, false, true,
-                               false, true, true, true, false)), (String
-                               ((Ascii (true, false, false, true, false,
-                               true, true, false)), (String ((Ascii (false,
-                               true, true, true, false, true, true, false)),
-                               (String ((Ascii (true, true, true, false,
-                               false, true, true, false)), (String ((Ascii
-                               (false, true, true, true, false, false, true,
-                               false)), (String ((Ascii (true, false, true,
-                               false, true, true, true, false)), (String
-                               ((Ascii (true, false, true, true, false, true,
-                               true, false)), (String ((Ascii (false, true,
-                               false, false, false, true, true, false)),
-                               (String ((Ascii (true, false, true, false,
-                               false, true, true, false)), (String ((Ascii
-                               (false, true, false, false, true, true, true,
-                               false)), (String ((Ascii (false, false, true,
-                               true, false, false, true, false)), (String
-                               ((Ascii (true, false, true, false, false,
-                               true, true, false)), (String ((Ascii (true,
-                               false, false, false, false, true, true,
-                               false)), (String ((Ascii (false, false, true,
-                               false, false, true, true, false)), (String
-                               ((Ascii (true, false, false, true, false,
-                               true, true, false)), (String ((Ascii (false,
-                               true, true, true, false, true, true, false)),
-                               (String ((Ascii (true, true, true, false,
-                               false, true, true, false)), (String ((Ascii
-                               (false, true, false, true, true, false, true,
-                               false)), (String ((Ascii (true, false, true,
-                               false, false, true, true, false)), (String
-                               ((Ascii (false, true, false, false, true,
-                               true, true, false)), (String ((Ascii (true,
-                               true, true, true, false, true, true, false)),
-                               EmptyString)))))))))))))))))))))))))))))))))))))))))))))))))))))))) :: ((String
-                               ((Ascii (false, false, false, false, true,
-                               true, true, false)), (String ((Ascii (true,
-                               false, false, false, false, true, true,
-                               false)), (String ((Ascii (false, true, false,
-                               false, true, true, true, false)), (String
-                               ((Ascii (true, true, false, false, true, true,
-                               true, false)), (String ((Ascii (true, false,
-                               true, false, false, true, true, false)),
-                               (String ((Ascii (true, true, false, false,
-                               true, false, true, false)), (String ((Ascii
-                               (false, false, true, false, true, true, true,
-                               false)), (String ((Ascii (false, true, false,
-                               false, true, true, true, false)), (String
-                               ((Ascii (true, false, false, true, false,
-                               true, true, false)), (String ((Ascii (false,
-                               true, true, true, false, true, true, false)),
-                               (String ((Ascii (true, true, true, false,
-                               false, true, true, false)), (String ((Ascii
-                               (false, true, true, false, false, false, true,
-                               false)), (String ((Ascii (true, false, false,
-                               true, false, true, true, false)), (String
-                               ((Ascii (true, false, true, false, false,
-                               true, true, false)), (String ((Ascii (false,
-                               false, true, true, false, true, true, false)),
-                               (String ((Ascii (false, false, true, false,
-                               false, true, true, false)),
-                               EmptyString)))))))))))))))))))))))))))))))) :: []))) :: (
-    (mkcut (S (S (S (S (S (S (S (S (S (S (S (S (S O))))))))))))) (S (S (S (S
-      (S (S (S (S (S (S (S (S (S (S (S (S (S (S (S (S (S (S (S
-      O))))))))))))))))))))))) (String ((Ascii (true, false, false, true,
-      false, false, true, false)), (String ((Ascii (true, false, true, true,
-      false, true, true, false)), (String ((Ascii (true, false, true, true,
-      false, true, true, false)), (String ((Ascii (true, false, true, false,
-      false, true, true, false)), (String ((Ascii (false, false, true, false,
-      false, true, true, false)), (String ((Ascii (true, false, false, true,
-      false, true, true, false)), (String ((Ascii (true, false, false, false,
-      false, true, true, false)), (String ((Ascii (false, false, true, false,
-      true, true, true, false)), (String ((Ascii (true, false, true, false,
-      false, true, true, false)), (String ((Ascii (true, true, true, true,
-      false, false, true, false)), (String ((Ascii (false, true, false,
-      false, true, true, true, false)), (String ((Ascii (true, false, false,
-      true, false, true, true, false)), (String ((Ascii (true, true, true,
-      false, false, true, true, false)), (String ((Ascii (true, false, false,
-      true, false, true, true, false)), (String ((Ascii (false, true, true,
-      true, false, true, true, false)),
-      EmptyString)))))))))))))))))))))))))))))) ((String ((Ascii (false,
-      false, true, false, true, true, true, false)), (String ((Ascii (false,
-      true, false, false, true, true, true, false)), (String ((Ascii (true,
-      false, false, true, false, true, true, false)), (String ((Ascii (true,
-      false, true, true, false, true, true, false)), (String ((Ascii (false,
-      true, false, false, true, false, true, false)), (String ((Ascii (true,
-      true, true, true, false, true, true, false)), (String ((Ascii (true,
-      false, true, false, true, true, true, false)), (String ((Ascii (false,
-      false, true, false, true, true, true, false)), (String ((Ascii (true,
-      false, false, true, false, true, true, false)), (String ((Ascii (false,
-      true, true, true, false, true, true, false)), (String ((Ascii (true,
-      true, true, false, false, true, true, false)), (String ((Ascii (false,
-      true, true, true, false, false, true, false)), (String ((Ascii (true,
-      false, true, false, true, true, true, false)), (String ((Ascii (true,
-      false, true, true, false, true, true, false)), (String ((Ascii (false,
-      true, false, false, false, true, true, false)), (String ((Ascii (true,
-      false, true, false, false, true, true, false)), (String ((Ascii (false,
-      true, false, false, true, true, true, false)), (String ((Ascii (false,
-      false, true, true, false, false, true, false)), (String ((Ascii (true,
-      false, true, false, false, true, true, false)), (String ((Ascii (true,
-      false, false, false, false, true, true, false)), (String ((Ascii
-      (false, false, true, false, false, true, true, false)), (String ((Ascii
-      (true, false, false, true, false, true, true, false)), (String ((Ascii
-      (false, true, true, true, false, true, true, false)), (String ((Ascii
-      (true, true, true, false, false, true, true, false)), (String ((Ascii
-      (false, true, false, true, true, false, true, false)), (String ((Ascii
-      (true, false, true, false, false, true, true, false)), (String ((Ascii
-      (false, true, false, false, true, true, true, false)), (String ((Ascii
-      (true, true, true, true, false, true, true, false)),
-      EmptyString)))))))))))))))))))))))))))))))))))))))))))))))))))))))) :: ((String
-      ((Ascii (false, false, false, false, true, true, true, false)), (String
-      ((Ascii (true, false, false, false, false, true, true, false)), (String
-      ((Ascii (false, true, false, false, true, true, true, false)), (String
-      ((Ascii (true, true, false, false, true, true, true, false)), (String
-      ((Ascii (true, false, true, false, false, true, true, false)), (String
-      ((Ascii (true, true, false, false, true, false, true, false)), (String
-      ((Ascii (false, false, true, false, true, true, true, false)), (String
-      ((Ascii (false, true, false, false, true, true, true, false)), (String
-      ((Ascii (true, false, false, true, false, true, true, false)), (String
-      ((Ascii (false, true, true, true, false, true, true, false)), (String
-      ((Ascii (true, true, true, false, false, true, true, false)), (String
-      ((Ascii (false, true, true, false, false, false, true, false)), (String
-      ((Ascii (true, false, false, true, false, true, true, false)), (String
-      ((Ascii (true, false, true, false, false, true, true, false)), (String
-      ((Ascii (false, false, true, true, false, true, true, false)), (String
-      ((Ascii (false, false, true, false, false, true, true, false)),
-      EmptyString)))))))))))))))))))))))))))))))) :: []))) :: ((mkcut (S (S
-                                                                 (S (S (S (S
-                                                                 (S (S (S (S
-                                                                 (S (S (S (S
-                                                                 (S (S (S (S
-                                                                 (S (S (S (S
-                                                                 (S
-                                                                 O)))))))))))))))))))))))
-                                                                 (S (S (S (S
-                                                                 (S (S (S (S
-                                                                 (S (S (S (S
-                                                                 (S (S (S (S
-                                                                 (S (S (S (S
-                                                                 (S (S (S (S
-                                                                 (S (S (S (S
-                                                                 (S
-                                                                 O)))))))))))))))))))))))))))))
-                                                                 (String
-                                                                 ((Ascii
-                                                                 (false,
-                                                                 true, true,
-                                                                 false,
-                                                                 false,
-                                                                 false, true,
-                                                                 false)),
-                                                                 (String
-                                                                 ((Ascii
-                                                                 (true,
-                                                                 false,
-                                                                 false, true,
-                                                                 false, true,
-                                                                 true,
-                                                                 false)),
-                                                                 (String
-                                                                 ((Ascii
-                                                                 (false,
-                                                                 false, true,
-                                                                 true, false,
-                                                                 true, true,
-                                                                 false)),
-                                                                 (String
-                                                                 ((Ascii
-                                                                 (true,
-                                                                 false, true,
-                                                                 false,
-                                                                 false, true,
-                                                                 true,
-                                                                 false)),
-                                                                 (String
-                                                                 ((Ascii
-                                                                 (true, true,
-                                                                 false,
-                                                                 false,
-                                                                 false,
-                                                                 false, true,
-                                                                 false)),
-                                                                 (String
-                                                                 ((Ascii
-                                                                 (false,
-                                                                 true, false,
-                                                                 false, true,
-                                                                 true, true,
-                                                                 false)),
-                                                                 (String
-                                                                 ((Ascii
-                                                                 (true,
-                                                                 false, true,
-                                                                 false,
-                                                                 false, true,
-                                                                 true,
-                                                                 false)),
-                                                                 (String
-                                                                 ((Ascii
-                                                                 (true,
-                                                                 false,
-                                                                 false,
-                                                                 false,
-                                                                 false, true,
-                                                                 true,
-                                                                 false)),
-                                                                 (String
-                                                                 ((Ascii
-                                                                 (false,
-                                                                 false, true,
-                                                                 false, true,
-                                                                 true, true,
-                                                                 false)),
-                                                                 (String
-                                                                 ((Ascii
-                                                                 (true,
-                                                                 false,
-                                                                 false, true,
-                                                                 false, true,
-                                                                 true,
-                                                                 false)),
-                                                                 (String
-                                                                 ((Ascii
-                                                                 (true, true,
-                                                                 true, true,
-                                                                 false, true,
-                                                                 true,
-                                                                 false)),
-                                                                 (String
-                                                                 ((Ascii
-                                                                 (false,
-                                                                 true, true,
-                                                                 true, false,
-                                                                 true, true,
-                                                                 false)),
-                                                                 (String
-                                                                 ((Ascii
-                                                                 (false,
-                                                                 false, true,
-                                                                 false,
-                                                                 false,
-                                                                 false, true,
-                                                                 false)),
-                                                                 (String
-                                                                 ((Ascii
-                                                                 (true,
-                                                                 false,
-                                                                 false,
-                                                                 false,
-                                                                 false, true,
-                                                                 true,
-                                                                 false)),
-                                                                 (String
-                                                                 ((Ascii
-                                                                 (false,
-                                                                 false, true,
-                                                                 false, true,
-                                                                 true, true,
-                                                                 false)),
-                                                                 (String
-                                                                 ((Ascii
-                                                                 (true,
-                                                                 false, true,
-                                                                 false,
-                                                                 false, true,
-                                                                 true,
-                                                                 false)),
-                                                                 EmptyString))))))))))))))))))))))))))))))))
-                                                                 ((String
-                                                                 ((Ascii
-                                                                 (false,
-                                                                 true, true,
-                                                                 false, true,
-                                                                 true, true,
-                                                                 false)),
-                                                                 (String
-                                                                 ((Ascii
-                                                                 (true,
-                                                                 false,
-                                                                 false,
-                                                                 false,
-                                                                 false, true,
-                                                                 true,
-                                                                 false)),
-                                                                 (String
-                                                                 ((Ascii
-                                                                 (false,
-                                                                 false, true,
-                                                                 true, false,
-                                                                 true, true,
-                                                                 false)),
-                                                                 (String
-                                                                 ((Ascii
-                                                                 (true,
-                                                                 false,
-                                                                 false, true,
-                                                                 false, true,
-                                                                 true,
-                                                                 false)),
-                                                                 (String
-                                                                 ((Ascii
-                                                                 (false,
-                                                                 false, true,
-                                                                 false,
-                                                                 false, true,
-                                                                 true,
-                                                                 false)),
-                                                                 (String
-                                                                 ((Ascii
-                                                                 (true,
-                                                                 false,
-                                                                 false,
-                                                                 false,
-                                                                 false, true,
-                                                                 true,
-                                                                 false)),
-                                                                 (String
-                                                                 ((Ascii
-                                                                 (false,
-                                                                 false, true,
-                                                                 false, true,
-                                                                 true, true,
-                                                                 false)),
-                                                                 (String
-                                                                 ((Ascii
-                                                                 (true,
-                                                                 false, true,
-                                                                 false,
-                                                                 false, true,
-                                                                 true,
-                                                                 false)),
-                                                                 (String
-                                                                 ((Ascii
-                                                                 (true, true,
-                                                                 false,
-                                                                 false, true,
-                                                                 false, true,
-                                                                 false)),
-                                                                 (String
-                                                                 ((Ascii
-                                                                 (true,
-                                                                 false,
-                                                                 false, true,
-                                                                 false, true,
-                                                                 true,
-                                                                 false)),
-                                                                 (String
-                                                                 ((Ascii
-                                                                 (true,
-                                                                 false, true,
-                                                                 true, false,
-                                                                 true, true,
-                                                                 false)),
-                                                                 (String
-                                                                 ((Ascii
-                                                                 (false,
-                                                                 false,
-                                                                 false,
-                                                                 false, true,
-                                                                 true, true,
-                                                                 false)),
-                                                                 (String
-                                                                 ((Ascii
-                                                                 (false,
-                                                                 false, true,
-                                                                 true, false,
-                                                                 true, true,
-                                                                 false)),
-                                                                 (String
-                                                                 ((Ascii
-                                                                 (true,
-                                                                 false, true,
-                                                                 false,
-                                                                 false, true,
-                                                                 true,
-                                                                 false)),
-                                                                 (String
-                                                                 ((Ascii
-                                                                 (false,
-                                                                 false, true,
-                                                                 false,
-                                                                 false,
-                                                                 false, true,
-                                                                 false)),
-                                                                 (String
-                                                                 ((Ascii
-                                                                 (true,
-                                                                 false,
-                                                                 false,
-                                                                 false,
-                                                                 false, true,
-                                                                 true,
-                                                                 false)),
-                                                                 (String
-                                                                 ((Ascii
-                                                                 (false,
-                                                                 false, true,
-                                                                 false, true,
-                                                                 true, true,
-                                                                 false)),
-                                                                 (String
-                                                                 ((Ascii
-                                                                 (true,
-                                                                 false, true,
-                                                                 false,
-                                                                 false, true,
-                                                                 true,
-                                                                 false)),
-                                                                 EmptyString)))))))))))))))))))))))))))))))))))) :: [])) :: (
-    (mkcut (S (S (S (S (S (S (S (S (S (S (S (S (S (S (S (S (S (S (S (S (S (S
-      (S (S (S (S (S (S (S O))))))))))))))))))))))))))))) (S (S (S (S (S (S
-      (S (S (S (S (S (S (S (S (S (S (S (S (S (S (S (S (S (S (S (S (S (S (S (S
-      (S (S (S O))))))))))))))))))))))))))))))))) (String ((Ascii (false,
-      true, true, false, false, false, true, false)), (String ((Ascii (true,
-      false, false, true, false, true, true, false)), (String ((Ascii (false,
-      false, true, true, false, true, true, false)), (String ((Ascii (true,
-      false, true, false, false, true, true, false)), (String ((Ascii (true,
-      true, false, false, false, false, true, false)), (String ((Ascii
-      (false, true, false, false, true, true, true, false)), (String ((Ascii
-      (true, false, true, false, false, true, true, false)), (String ((Ascii
-      (true, false, false, false, false, true, true, false)), (String ((Ascii
-      (false, false, true, false, true, true, true, false)), (String ((Ascii
-      (true, false, false, true, false, true, true, false)), (String ((Ascii
-      (true, true, true, true, false, true, true, false)), (String ((Ascii
-      (false, true, true, true, false, true, true, false)), (String ((Ascii
-      (false, false, true, false, true, false, true, false)), (String ((Ascii
-      (true, false, false, true, false, true, true, false)), (String ((Ascii
-      (true, false, true, true, false, true, true, false)), (String ((Ascii
-      (true, false, true, false, false, true, true, false)),
-      EmptyString)))))))))))))))))))))))))))))))) ((String ((Ascii (false,
-      true, true, false, true, true, true, false)), (String ((Ascii (true,
-      false, false, false, false, true, true, false)), (String ((Ascii
-      (false, false, true, true, false, true, true, false)), (String ((Ascii
-      (true, false, false, true, false, true, true, false)), (String ((Ascii
-      (false, false, true, false, false, true, true, false)), (String ((Ascii
-      (true, false, false, false, false, true, true, false)), (String ((Ascii
-      (false, false, true, false, true, true, true, false)), (String ((Ascii
-      (true, false, true, false, false, true, true, false)), (String ((Ascii
-      (true, true, false, false, true, false, true, false)), (String ((Ascii
-      (true, false, false, true, false, true, true, false)), (String ((Ascii
-      (true, false, true, true, false, true, true, false)), (String ((Ascii
-      (false, false, false, false, true, true, true, false)), (String ((Ascii
-      (false, false, true, true, false, true, true, false)), (String ((Ascii
-      (true, false, true, false, false, true, true, false)), (String ((Ascii
-      (false, false, true, false, true, false, true, false)), (String ((Ascii
-      (true, false, false, true, false, true, true, false)), (String ((Ascii
-      (true, false, true, true, false, true, true, false)), (String ((Ascii
-      (true, false, true, false, false, true, true, false)),
-      EmptyString)))))))))))))))))))))))))))))))))))) :: [])) :: ((mkcut (S
-                                                                    (S (S (S
-                                                                    (S (S (S
-                                                                    (S (S (S
-                                                                    (S (S (S
-                                                                    (S (S (S
-                                                                    (S (S (S
-                                                                    (S (S (S
-                                                                    (S (S (S
-                                                                    (S (S (S
-                                                                    (S (S (S
-                                                                    (S (S
-                                                                    O)))))))))))))))))))))))))))))))))
-                                                                    (S (S (S
-                                                                    (S (S (S
-                                                                    (S (S (S
-                                                                    (S (S (S
-                                                                    (S (S (S
-                                                                    (S (S (S
-                                                                    (S (S (S
-                                                                    (S (S (S
-                                                                    (S (S (S
-                                                                    (S (S (S
-                                                                    (S (S (S
-                                                                    (S
-                                                                    O))))))))))))))))))))))))))))))))))
-                                                                    (String
-                                                                    ((Ascii
-                                                                    (false,
-                                                                    true,
-                                                                    true,
-                                                                    false,
-                                                                    false,
-                                                                    false,
-                                                                    true,
-                                                                    false)),
-                                                                    (String
-                                                                    ((Ascii
-                                                                    (true,
-                                                                    false,
-                                                                    false,
-                                                                    true,
-                                                                    false,
-                                                                    true,
-                                                                    true,
-                                                                    false)),
-                                                                    (String
-                                                                    ((Ascii
-                                                                    (false,
-                                                                    false,
-                                                                    true,
-                                                                    true,
-                                                                    false,
-                                                                    true,
-                                                                    true,
-                                                                    false)),
-                                                                    (String
-                                                                    ((Ascii
-                                                                    (true,
-                                                                    false,
-                                                                    true,
-                                                                    false,
-                                                                    false,
-                                                                    true,
-                                                                    true,
-                                                                    false)),
-                                                                    (String
-                                                                    ((Ascii
-                                                                    (true,
-                                                                    false,
-                                                                    false,
-                                                                    true,
-                                                                    false,
-                                                                    false,
-                                                                    true,
-                                                                    false)),
-                                                                    (String
-                                                                    ((Ascii
-                                                                    (false,
-                                                                    false,
-                                                                    true,
-                                                                    false,
-                                                                    false,
-                                                                    false,
-                                                                    true,
-                                                                    false)),
-                                                                    (String
-                                                                    ((Ascii
-                                                                    (true,
-                                                                    false,
-                                                                    true,
-                                                                    true,
-                                                                    false,
-                                                                    false,
-                                                                    true,
-                                                                    false)),
-                                                                    (String
-                                                                    ((Ascii
-                                                                    (true,
-                                                                    true,
-                                                                    true,
-                                                                    true,
-                                                                    false,
-                                                                    true,
-                                                                    true,
-                                                                    false)),
-                                                                    (String
-                                                                    ((Ascii
-                                                                    (false,
-                                                                    false,
-                                                                    true,
-                                                                    false,
-                                                                    false,
-                                                                    true,
-                                                                    true,
-                                                                    false)),
-                                                                    (String
-                                                                    ((Ascii
-                                                                    (true,
-                                                                    false,
-                                                                    false,
-                                                                    true,
-                                                                    false,
-                                                                    true,
-                                                                    true,
-                                                                    false)),
-                                                                    (String
-                                                                    ((Ascii
-                                                                    (false,
-                                                                    true,
-                                                                    true,
-                                                                    false,
-                                                                    false,
-                                                                    true,
-                                                                    true,
-                                                                    false)),
-                                                                    (String
-                                                                    ((Ascii
-                                                                    (true,
-                                                                    false,
-                                                                    false,
-                                                                    true,
-                                                                    false,
-                                                                    true,
-                                                                    true,
-                                                                    false)),
-                                                                    (String
-                                                                    ((Ascii
-                                                                    (true,
-                                                                    false,
-                                                                    true,
-                                                                    false,
-                                                                    false,
-                                                                    true,
-                                                                    true,
-                                                                    false)),
-                                                                    (String
-                                                                    ((Ascii
-                                                                    (false,
-                                                                    true,
-                                                                    false,
-                                                                    false,
-                                                                    true,
-                                                                    true,
-                                                                    true,
-                                                                    false)),
-                                                                    EmptyString))))))))))))))))))))))))))))
-                                                                    []) :: (
-    (mkconst (String ((Ascii (false, true, false, false, true, true, true,
-      false)), (String ((Ascii (true, false, true, false, false, true, true,
-      false)), (String ((Ascii (true, true, false, false, false, true, true,
-      false)), (String ((Ascii (true, true, true, true, false, true, true,
-      false)), (String ((Ascii (false, true, false, false, true, true, true,
-      false)), (String ((Ascii (false, false, true, false, false, true, true,
-      false)), (String ((Ascii (true, true, false, false, true, false, true,
-      false)), (String ((Ascii (true, false, false, true, false, true, true,
-      false)), (String ((Ascii (false, true, false, true, true, true, true,
-      false)), (String ((Ascii (true, false, true, false, false, true, true,
-      false)), EmptyString)))))))))))))))))))) ((Npos (XO (XO (XO (XO (XI
-      XH)))))) :: ((Npos (XI (XO (XO (XI (XI XH)))))) :: ((Npos (XO (XO (XI
-      (XO (XI XH)))))) :: [])))) :: ((mkconst (String ((Ascii (false, true,
-                                       false, false, false, true, true,
-                                       false)), (String ((Ascii (false,
-                                       false, true, true, false, true, true,
-                                       false)), (String ((Ascii (true, true,
-                                       true, true, false, true, true,
-                                       false)), (String ((Ascii (true, true,
-                                       false, false, false, true, true,
-                                       false)), (String ((Ascii (true, true,
-                                       false, true, false, true, true,
-                                       false)), (String ((Ascii (true, false,
-                                       false, true, false, true, true,
-                                       false)), (String ((Ascii (false, true,
-                                       true, true, false, true, true,
-                                       false)), (String ((Ascii (true, true,
-                                       true, false, false, true, true,
-                                       false)), (String ((Ascii (false, true,
-                                       true, false, false, false, true,
-                                       false)), (String ((Ascii (true, false,
-                                       false, false, false, true, true,
-                                       false)), (String ((Ascii (true, true,
-                                       false, false, false, true, true,
-                                       false)), (String ((Ascii (false,
-                                       false, true, false, true, true, true,
-                                       false)), (String ((Ascii (true, true,
-                                       true, true, false, true, true,
-                                       false)), (String ((Ascii (false, true,
-                                       false, false, true, true, true,
-                                       false)),
-                                       EmptyString))))))))))))))))))))))))))))
-                                       ((Npos (XI (XO (XO (XO (XI
-                                       XH)))))) :: ((Npos (XO (XO (XO (XO (XI
-                                       XH)))))) :: []))) :: ((mkconst (String
-                                                               ((Ascii
-                                                               (false, true,
-                                                               true, false,
-                                                               false, true,
-                                                               true, false)),
-                                                               (String
-                                                               ((Ascii (true,
-                                                               true, true,
-                                                               true, false,
-                                                               true, true,
-                                                               false)),
-                                                               (String
-                                                               ((Ascii
-                                                               (false, true,
-                                                               false, false,
-                                                               true, true,
-                                                               true, false)),
-                                                               (String
-                                                               ((Ascii (true,
-                                                               false, true,
-                                                               true, false,
-                                                               true, true,
-                                                               false)),
-                                                               (String
-                                                               ((Ascii (true,
-                                                               false, false,
-                                                               false, false,
-                                                               true, true,
-                                                               false)),
-                                                               (String
-                                                               ((Ascii
-                                                               (false, false,
-                                                               true, false,
-                                                               true, true,
-                                                               true, false)),
-                                                               (String
-                                                               ((Ascii (true,
-                                                               true, false,
-                                                               false, false,
-                                                               false, true,
-                                                               false)),
-                                                               (String
-                                                               ((Ascii (true,
-                                                               true, true,
-                                                               true, false,
-                                                               true, true,
-                                                               false)),
-                                                               (String
-                                                               ((Ascii
-                                                               (false, false,
-                                                               true, false,
-                                                               false, true,
-                                                               true, false)),
-                                                               (String
-                                                               ((Ascii (true,
-                                                               false, true,
-                                                               false, false,
-                                                               true, true,
-                                                               false)),
-                                                               EmptyString))))))))))))))))))))
-                                                               ((Npos (XI (XO
-                                                               (XO (XO (XI
-                                                               XH)))))) :: [])) :: (
-    (mkcut (S (S (S (S (S (S (S (S (S (S (S (S (S (S (S (S (S (S (S (S (S (S
-      (S (S (S (S (S (S (S (S (S (S (S (S (S (S (S (S (S (S
-      O)))))))))))))))))))))))))))))))))))))))) (S (S (S (S (S (S (S (S (S (S
-      (S (S (S (S (S (S (S (S (S (S (S (S (S (S (S (S (S (S (S (S (S (S (S (S
-      (S (S (S (S (S (S (S (S (S (S (S (S (S (S (S (S (S (S (S (S (S (S (S (S
-      (S (S (S (S (S
-      O)))))))))))))))))))))))))))))))))))))))))))))))))))))))))))))))
-      (String ((Ascii (true, false, false, true, false, false, true, false)),
-      (String ((Ascii (true, false, true, true, false, true, true, false)),
-      (String ((Ascii (true, false, true, true, false, true, true, false)),
-      (String ((Ascii (true, false, true, false, false, true, true, false)),
-      (String ((Ascii (false, false, true, false, false, true, true, false)),
-      (String ((Ascii (true, false, false, true, false, true, true, false)),
-      (String ((Ascii (true, false, false, false, false, true, true, false)),
-      (String ((Ascii (false, false, true, false, true, true, true, false)),
-      (String ((Ascii (true, false, true, false, false, true, true, false)),
-      (String ((Ascii (false, false, true, false, false, false, true,
-      false)), (String ((Ascii (true, false, true, false, false, true, true,
-      false)), (String ((Ascii (true, true, false, false, true, true, true,
-      false)), (String ((Ascii (false, false, true, false, true, true, true,
-      false)), (String ((Ascii (true, false, false, true, false, true, true,
-      false)), (String ((Ascii (false, true, true, true, false, true, true,
-      false)), (String ((Ascii (true, false, false, false, false, true, true,
-      false)), (String ((Ascii (false, false, true, false, true, true, true,
-      false)), (String ((Ascii (true, false, false, true, false, true, true,
-      false)), (String ((Ascii (true, true, true, true, false, true, true,
-      false)), (String ((Ascii (false, true, true, true, false, true, true,
-      false)), (String ((Ascii (false, true, true, true, false, false, true,
-      false)), (String ((Ascii (true, false, false, false, false, true, true,
-      false)), (String ((Ascii (true, false, true, true, false, true, true,
-      false)), (String ((Ascii (true, false, true, false, false, true, true,
-      false)), EmptyString))))))))))))))))))))))))))))))))))))))))))))))))
-      ((String ((Ascii (false, false, false, false, true, true, true,
-      false)), (String ((Ascii (true, false, false, false, false, true, true,
-      false)), (String ((Ascii (false, true, false, false, true, true, true,
-      false)), (String ((Ascii (true, true, false, false, true, true, true,
-      false)), (String ((Ascii (true, false, true, false, false, true, true,
-      false)), (String ((Ascii (true, true, false, false, true, false, true,
-      false)), (String ((Ascii (false, false, true, false, true, true, true,
-      false)), (String ((Ascii (false, true, false, false, true, true, true,
-      false)), (String ((Ascii (true, false, false, true, false, true, true,
-      false)), (String ((Ascii (false, true, true, true, false, true, true,
-      false)), (String ((Ascii (true, true, true, false, false, true, true,
-      false)), (String ((Ascii (false, true, true, false, false, false, true,
-      false)), (String ((Ascii (true, false, false, true, false, true, true,
-      false)), (String ((Ascii (true, false, true, false, false, true, true,
-      false)), (String ((Ascii (false, false, true, true, false, true, true,
-      false)), (String ((Ascii (false, false, true, false, false, true, true,
-      false)), (String ((Ascii (true, true, true, false, true, false, true,
-      false)), (String ((Ascii (true, false, false, true, false, true, true,
-      false)), (String ((Ascii (false, false, true, false, true, true, true,
-      false)), (String ((Ascii (false, false, false, true, false, true, true,
-      false)), (String ((Ascii (true, true, true, true, false, false, true,
-      false)), (String ((Ascii (false, false, false, false, true, true, true,
-      false)), (String ((Ascii (false, false, true, false, true, true, true,
-      false)), (String ((Ascii (true, true, false, false, true, true, true,
-      false)),
-      EmptyString)))))))))))))))))))))))))))))))))))))))))))))))) :: [])) :: (
-    (mkcut (S (S (S (S (S (S (S (S (S (S (S (S (S (S (S (S (S (S (S (S (S (S
-      (S (S (S (S (S (S (S (S (S (S (S (S (S (S (S (S (S (S (S (S (S (S (S (S
-      (S (S (S (S (S (S (S (S (S (S (S (S (S (S (S (S (S
-      O))))))))))))))))))))))))))))))))))))))))))))))))))))))))))))))) (S (S
-      (S (S (S (S (S (S (S (S (S (S (S (S (S (S (S (S (S (S (S (S (S (S (S (S
-      (S (S (S (S (S (S (S (S (S (S (S (S (S (S (S (S (S (S (S (S (S (S (S (S
-      (S (S (S (S (S (S (S (S (S (S (S (S (S (S (S (S (S (S (S (S (S (S (S (S
-      (S (S (S (S (S (S (S (S (S (S (S (S
-      O))))))))))))))))))))))))))))))))))))))))))))))))))))))))))))))))))))))))))))))))))))))
-      (String ((Ascii (true, false, false, true, false, false, true, false)),
-      (String ((Ascii (true, false, true, true, false, true, true, false)),
-      (String ((Ascii (true, false, true, true, false, true, true, false)),
-      (String ((Ascii (true, false, true, false, false, true, true, false)),
-      (String ((Ascii (false, false, true, false, false, true, true, false)),
-      (String ((Ascii (true, false, false, true, false, true, true, false)),
-      (String ((Ascii (true, false, false, false, false, true, true, false)),
-      (String ((Ascii (false, false, true, false, true, true, true, false)),
-      (String ((Ascii (true, false, true, false, false, true, true, false)),
-      (String ((Ascii (true, true, true, true, false, false, true, false)),
-      (String ((Ascii (false, true, false, false, true, true, true, false)),
-      (String ((Ascii (true, false, false, true, false, true, true, false)),
-      (String ((Ascii (true, true, true, false, false, true, true, false)),
-      (String ((Ascii (true, false, false, true, false, true, true, false)),
-      (String ((Ascii (false, true, true, true, false, true, true, false)),
-      (String ((Ascii (false, true, true, true, false, false, true, false)),
-      (String ((Ascii (true, false, false, false, false, true, true, false)),
-      (String ((Ascii (true, false, true, true, false, true, true, false)),
-      (String ((Ascii (true, false, true, false, false, true, true, false)),
-      EmptyString)))))))))))))))))))))))))))))))))))))) ((String ((Ascii
-      (false, false, false, false, true, true, true, false)), (String ((Ascii
-      (true, false, false, false, false, true, true, false)), (String ((Ascii
-      (false, true, false, false, true, true, true, false)), (String ((Ascii
-      (true, true, false, false, true, true, true, false)), (String ((Ascii
-      (true, false, true, false, false, true, true, false)), (String ((Ascii
-      (true, true, false, false, true, false, true, false)), (String ((Ascii
-      (false, false, true, false, true, true, true, false)), (String ((Ascii
-      (false, true, false, false, true, true, true, false)), (String ((Ascii
-      (true, false, false, true, false, true, true, false)), (String ((Ascii
-      (false, true, true, true, false, true, true, false)), (String ((Ascii
-      (true, true, true, false, false, true, true, false)), (String ((Ascii
-      (false, true, true, false, false, false, true, false)), (String ((Ascii
-      (true, false, false, true, false, true, true, false)), (String ((Ascii
-      (true, false, true, false, false, true, true, false)), (String ((Ascii
-      (false, false, true, true, false, true, true, false)), (String ((Ascii
-      (false, false, true, false, false, true, true, false)), (String ((Ascii
-      (true, true, true, false, true, false, true, false)), (String ((Ascii
-      (true, false, false, true, false, true, true, false)), (String ((Ascii
-      (false, false, true, false, true, true, true, false)), (String ((Ascii
-      (false, false, false, true, false, true, true, false)), (String ((Ascii
-      (true, true, true, true, false, false, true, false)), (String ((Ascii
-      (false, false, false, false, true, true, true, false)), (String ((Ascii
-      (false, false, true, false, true, true, true, false)), (String ((Ascii
-      (true, true, false, false, true, true, true, false)),
-      EmptyString)))))))))))))))))))))))))))))))))))))))))))))))) :: [])) :: (
-    (mkcut (S (S (S (S (S (S (S (S (S (S (S (S (S (S (S (S (S (S (S (S (S (S
-      (S (S (S (S (S (S (S (S (S (S (S (S (S (S (S (S (S (S (S (S (S (S (S (S
-      (S (S (S (S (S (S (S (S (S (S (S (S (S (S (S (S (S (S (S (S (S (S (S (S
-      (S (S (S (S (S (S (S (S (S (S (S (S (S (S (S (S
-      O))))))))))))))))))))))))))))))))))))))))))))))))))))))))))))))))))))))))))))))))))))))
-      (S (S (S (S (S (S (S (S (S (S (S (S (S (S (S (S (S (S (S (S (S (S (S (S
-      (S (S (S (S (S (S (S (S (S (S (S (S (S (S (S (S (S (S (S (S (S (S (S (S
-      (S (S (S (S (S (S (S (S (S (S (S (S (S (S (S (S (S (S (S (S (S (S (S (S
-      (S (S (S (S (S (S (S (S (S (S (S (S (S (S (S (S (S (S (S (S (S (S
-      O))))))))))))))))))))))))))))))))))))))))))))))))))))))))))))))))))))))))))))))))))))))))))))))
-      (String ((Ascii (false, true, false, false, true, false, true, false)),
-      (String ((Ascii (true, false, true, false, false, true, true, false)),
-      (String ((Ascii (false, true, true, false, false, true, true, false)),
-      (String ((Ascii (true, false, true, false, false, true, true, false)),
-      (String ((Ascii (false, true, false, false, true, true, true, false)),
-      (String ((Ascii (true, false, true, false, false, true, true, false)),
-      (String ((Ascii (false, true, true, true, false, true, true, false)),
-      (String ((Ascii (true, true, false, false, false, true, true, false)),
-      (String ((Ascii (true, false, true, false, false, true, true, false)),
-      (String ((Ascii (true, true, false, false, false, false, true, false)),
-      (String ((Ascii (true, true, true, true, false, true, true, false)),
-      (String ((Ascii (false, false, true, false, false, true, true, false)),
-      (String ((Ascii (true, false, true, false, false, true, true, false)),
-      EmptyString)))))))))))))))))))))))))) ((String ((Ascii (false, false,
-      false, false, true, true, true, false)), (String ((Ascii (true, false,
-      false, false, false, true, true, false)), (String ((Ascii (false, true,
-      false, false, true, true, true, false)), (String ((Ascii (true, true,
-      false, false, true, true, true, false)), (String ((Ascii (true, false,
-      true, false, false, true, true, false)), (String ((Ascii (true, true,
-      false, false, true, false, true, false)), (String ((Ascii (false,
-      false, true, false, true, true, true, false)), (String ((Ascii (false,
-      true, false, false, true, true, true, false)), (String ((Ascii (true,
-      false, false, true, false, true, true, false)), (String ((Ascii (false,
-      true, true, true, false, true, true, false)), (String ((Ascii (true,
-      true, true, false, false, true, true, false)), (String ((Ascii (false,
-      true, true, false, false, false, true, false)), (String ((Ascii (true,
-      false, false, true, false, true, true, false)), (String ((Ascii (true,
-      false, true, false, false, true, true, false)), (String ((Ascii (false,
-      false, true, true, false, true, true, false)), (String ((Ascii (false,
-      false, true, false, false, true, true, false)), (String ((Ascii (true,
-      true, true, false, true, false, true, false)), (String ((Ascii (true,
-      false, false, true, false, true, true, false)), (String ((Ascii (false,
-      false, true, false, true, true, true, false)), (String ((Ascii (false,
-      false, false, true, false, true, true, false)), (String ((Ascii (true,
-      true, true, true, false, false, true, false)), (String ((Ascii (false,
-      false, false, false, true, true, true, false)), (String ((Ascii (false,
-      false, true, false, true, true, true, false)), (String ((Ascii (true,
-      true, false, false, true, true, true, false)),
-      EmptyString)))))))))))))))))))))))))))))))))))))))))))))))) :: [])) :: [])))))))))))) }
-
-(** val l_IATBatchHeader : layout **)
-
-let l_IATBatchHeader =
-  { l_name = (String ((Ascii (true, false, false, true, false, false, true,
-    false)), (String ((Ascii (true, false, false, false, false, false, true,
-    false)), (String ((Ascii (false, false, true, false, true, false, true,
-    false)), (String ((Ascii (false, true, false, false, false, false, true,
-    false)), (String ((Ascii (true, false, false, false, false, true, true,
-    false)), (String ((Ascii (false, false, true, false, true, true, true,
-    false)), (String ((Ascii (true, true, false, false, false, true, true,
-    false)), (String ((Ascii (false, false, false, true, false, true, true,
-    false)), (String ((Ascii (false, false, false, true, false, false, true,
-    false)), (String ((Ascii (true, false, true, false, false, true, true,
-    false)), (String ((Ascii (true, false, false, false, false, true, true,
-    false)), (String ((Ascii (false, false, true, false, false, true, true,
-    false)), (String ((Ascii (true, false, true, false, false, true, true,
-    false)), (String ((Ascii (false, true, false, false, true, true, true,
-    false)), EmptyString)))))))))))))))))))))))))))); l_ix = IRune; l_segs =
-    ((SLit ((Npos (XI (XO (XI (XO (XI XH)))))) :: [])) :: ((SItoa (String
-    ((Ascii (true, true, false, false, true, false, true, false)), (String
     ((Ascii (true, false, true, false, false, true, true, false)), (String
-    ((Ascii (false, true, false, false, true, true, true, false)), (String
-    ((Ascii (false, true, true, false, true, true, true, false)), (String
-    ((Ascii (true, false, false, true, false, true, true, false)), (String
-    ((Ascii (true, true, false, false, false, true, true, false)), (String
-    ((Ascii (true, false, true, false, false, true, true, false)), (String
-    ((Ascii (true, true, false, false, false, false, true, false)), (String
-    ((Ascii (false, false, true, true, false, true, true, false)), (String
-    ((Ascii (true, false, false, false, false, true, true, false)), (String
-    ((Ascii (true, true, false, false, true, true, true, false)), (String
-    ((Ascii (true, true, false, false, true, true, true, false)), (String
-    ((Ascii (true, true, false, false, false, false, true, false)), (String
-    ((Ascii (true, true, true, true, false, true, true, false)), (String
-    ((Ascii (false, false, true, false, false, true, true, false)), (String
-    ((Ascii (true, false, true, false, false, true, true, false)),
-    EmptyString))))))))))))))))))))))))))))))))) :: ((SAlpha ((String ((Ascii
-    (true, false, false, true, false, false, true, false)), (String ((Ascii
-    (true, false, false, false, false, false, true, false)), (String ((Ascii
-    (false, false, true, false, true, false, true, false)), (String ((Ascii
-    (true, false, false, true, false, false, true, false)), (String ((Ascii
-    (false, true, true, true, false, true, true, false)), (String ((Ascii
-    (false, false, true, false, false, true, true, false)), (String ((Ascii
-    (true, false, false, true, false, true, true, false)), (String ((Ascii
-    (true, true, false, false, false, true, true, false)), (String ((Ascii
-    (true, false, false, false, false, true, true, false)), (String ((Ascii
-    (false, false, true, false, true, true, true, false)), (String ((Ascii
-    (true, true, true, true, false, true, true, false)), (String ((Ascii
-    (false, true, false, false, true, true, true, false)),
-    EmptyString)))))))))))))))))))))))), (S (S (S (S (S (S (S (S (S (S (S (S
-    (S (S (S (S O)))))))))))))))))) :: ((SAlpha ((String ((Ascii (false,
-    true, true, false, false, false, true, false)), (String ((Ascii (true,
-    true, true, true, false, true, true, false)), (String ((Ascii (false,
-    true, false, false, true, true, true, false)), (String ((Ascii (true,
-    false, true, false, false, true, true, false)), (String ((Ascii (true,
-    false, false, true, false, true, true, false)), (String ((Ascii (true,
-    true, true, false, false, true, true, false)), (String ((Ascii (false,
-    true, true, true, false, true, true, false)), (String ((Ascii (true,
-    false, true, false, false, false, true, false)), (String ((Ascii (false,
-    false, false, true, true, true, true, false)), (String ((Ascii (true,
-    true, false, false, false, true, true, false)), (String ((Ascii (false,
-    false, false, true, false, true, true, false)), (String ((Ascii (true,
-    false, false, false, false, true, true, false)), (String ((Ascii (false,
-    true, true, true, false, true, true, false)), (String ((Ascii (true,
-    true, true, false, false, true, true, false)), (String ((Ascii (true,
-    false, true, false, false, true, true, false)), (String ((Ascii (true,
-    false, false, true, false, false, true, false)), (String ((Ascii (false,
-    true, true, true, false, true, true, false)), (String ((Ascii (false,
-    false, true, false, false, true, true, false)), (String ((Ascii (true,
-    false, false, true, false, true, true, false)), (String ((Ascii (true,
-    true, false, false, false, true, true, false)), (String ((Ascii (true,
-    false, false, false, false, true, true, false)), (String ((Ascii (false,
-    false, true, false, true, true, true, false)), (String ((Ascii (true,
-    true, true, true, false, true, true, false)), (String ((Ascii (false,
-    true, false, false, true, true, true, false)),
-    EmptyString)))))))))))))))))))))))))))))))))))))))))))))))), (S (S
-    O)))) :: ((SNum ((String ((Ascii (false, true, true, false, false, false,
-    true, false)), (String ((Ascii (true, true, true, true, false, true,
-    true, false)), (String ((Ascii (false, true, false, false, true, true,
-    true, false)), (String ((Ascii (true, false, true, false, false, true,
-    true, false)), (String ((Ascii (true, false, false, true, false, true,
-    true, false)), (String ((Ascii (true, true, true, false, false, true,
-    true, false)), (String ((Ascii (false, true, true, true, false, true,
-    true, false)), (String ((Ascii (true, false, true, false, false, false,
-    true, false)), (String ((Ascii (false, false, false, true, true, true,
-    true, false)), (String ((Ascii (true, true, false, false, false, true,
-    true, false)), (String ((Ascii (false, false, false, true, false, true,
-    true, false)), (String ((Ascii (true, false, false, false, false, true,
-    true, false)), (String ((Ascii (false, true, true, true, false, true,
-    true, false)), (String ((Ascii (true, true, true, false, false, true,
-    true, false)), (String ((Ascii (true, false, true, false, false, true,
-    true, false)), (String ((Ascii (false, true, false, false, true, false,
-    true, false)), (String ((Ascii (true, false, true, false, false, true,
-    true, false)), (String ((Ascii (false, true, true, false, false, true,
-    true, false)), (String ((Ascii (true, false, true, false, false, true,
-    true, false)), (String ((Ascii (false, true, false, false, true, true,
-    true, false)), (String ((Ascii (true, false, true, false, false, true,
-    true, false)), (String ((Ascii (false, true, true, true, false, true,
-    true, false)), (String ((Ascii (true, true, false, false, false, true,
-    true, false)), (String ((Ascii (true, false, true, false, false, true,
-    true, false)), (String ((Ascii (true, false, false, true, false, false,
-    true, false)), (String ((Ascii (false, true, true, true, false, true,
-    true, false)), (String ((Ascii (false, false, true, false, false, true,
-    true, false)), (String ((Ascii (true, false, false, true, false, true,
-    true, false)), (String ((Ascii (true, true, false, false, false, true,
-    true, false)), (String ((Ascii (true, false, false, false, false, true,
-    true, false)), (String ((Ascii (false, false, true, false, true, true,
-    true, false)), (String ((Ascii (true, true, true, true, false, true,
-    true, false)), (String ((Ascii (false, true, false, false, true, true,
-    true, false)),
-    EmptyString)))))))))))))))))))))))))))))))))))))))))))))))))))))))))))))))))),
-    (S O))) :: ((SCustom ((String ((Ascii (true, false, false, true, false,
-    false, true, false)), (String ((Ascii (true, false, false, false, false,
-    false, true, false)), (String ((Ascii (false, false, true, false, true,
-    false, true, false)), (String ((Ascii (false, true, false, false, false,
-    false, true, false)), (String ((Ascii (true, false, false, false, false,
-    true, true, false)), (String ((Ascii (false, false, true, false, true,
-    true, true, false)), (String ((Ascii (true, true, false, false, false,
-    true, true, false)), (String ((Ascii (false, false, false, true, false,
-    true, true, false)), (String ((Ascii (false, false, false, true, false,
-    false, true, false)), (String ((Ascii (true, false, true, false, false,
-    true, true, false)), (String ((Ascii (true, false, false, false, false,
-    true, true, false)), (String ((Ascii (false, false, true, false, false,
-    true, true, false)), (String ((Ascii (true, false, true, false, false,
-    true, true, false)), (String ((Ascii (false, true, false, false, true,
-    true, true, false)), (String ((Ascii (false, true, true, true, false,
-    true, false, false)), (String ((Ascii (false, true, true, false, false,
-    false, true, false)), (String ((Ascii (true, true, true, true, false,
-    true, true, false)), (String ((Ascii (false, true, false, false, true,
-    true, true, false)), (String ((Ascii (true, false, true, false, false,
-    true, true, false)), (String ((Ascii (true, false, false, true, false,
-    true, true, false)), (String ((Ascii (true, true, true, false, false,
-    true, true, false)), (String ((Ascii (false, true, true, true, false,
-    true, true, false)), (String ((Ascii (true, false, true, false, false,
-    false, true, false)), (String ((Ascii (false, false, false, true, true,
-    true, true, false)), (String ((Ascii (true, true, false, false, false,
-    true, true, false)), (String ((Ascii (false, false, false, true, false,
-    true, true, false)), (String ((Ascii (true, false, false, false, false,
-    true, true, false)), (String ((Ascii (false, true, true, true, false,
-    true, true, false)), (String ((Ascii (true, true, true, false, false,
-    true, true, false)), (String ((Ascii (true, false, true, false, false,
-    true, true, false)), (String ((Ascii (false, true, false, false, true,
-    false, true, false)), (String ((Ascii (true, false, true, false, false,
-    true, true, false)), (String ((Ascii (false, true, true, false, false,
-    true, true, false)), (String ((Ascii (true, false, true, false, false,
-    true, true, false)), (String ((Ascii (false, true, false, false, true,
-    true, true, false)), (String ((Ascii (true, false, true, false, false,
-    true, true, false)), (String ((Ascii (false, true, true, true, false,
-    true, true, false)), (String ((Ascii (true, true, false, false, false,
-    true, true, false)), (String ((Ascii (true, false, true, false, false,
-    true, true, false)), (String ((Ascii (false, true, true, false, false,
-    false, true, false)), (String ((Ascii (true, false, false, true, false,
-    true, true, false)), (String ((Ascii (true, false, true, false, false,
-    true, true, false)), (String ((Ascii (false, false, true, true, false,
-    true, true, false)), (String ((Ascii (false, false, true, false, false,
-    true, true, false)),
-    EmptyString)))))))))))))))))))))))))))))))))))))))))))))))))))))))))))))))))))))))))))))))))))))))),
-    (String ((Ascii (true, true, false, false, false, true, true, false)),
-    (String ((Ascii (false, false, true, false, false, true, true, false)),
-    (String ((Ascii (false, false, false, true, true, true, false, false)),
-    (String ((Ascii (false, false, false, true, true, true, false, false)),
-    (String ((Ascii (true, false, false, false, false, true, true, false)),
-    (String ((Ascii (false, false, false, false, true, true, false, false)),
-    (String ((Ascii (false, false, true, false, false, true, true, false)),
-    (String ((Ascii (true, true, true, false, true, true, false, false)),
-    (String ((Ascii (true, false, true, false, true, true, false, false)),
-    (String ((Ascii (true, false, false, false, false, true, true, false)),
-    (String ((Ascii (false, true, true, false, false, true, true, false)),
-    (String ((Ascii (true, false, false, true, true, true, false, false)),
-    EmptyString)))))))))))))))))))))))))) :: ((SAlpha ((String ((Ascii (true,
-    false, false, true, false, false, true, false)), (String ((Ascii (true,
-    true, false, false, true, false, true, false)), (String ((Ascii (true,
-    true, true, true, false, false, true, false)), (String ((Ascii (false,
-    false, true, false, false, false, true, false)), (String ((Ascii (true,
-    false, true, false, false, true, true, false)), (String ((Ascii (true,
-    true, false, false, true, true, true, false)), (String ((Ascii (false,
-    false, true, false, true, true, true, false)), (String ((Ascii (true,
-    false, false, true, false, true, true, false)), (String ((Ascii (false,
-    true, true, true, false, true, true, false)), (String ((Ascii (true,
-    false, false, false, false, true, true, false)), (String ((Ascii (false,
-    false, true, false, true, true, true, false)), (String ((Ascii (true,
-    false, false, true, false, true, true, false)), (String ((Ascii (true,
-    true, true, true, false, true, true, false)), (String ((Ascii (false,
-    true, true, true, false, true, true, false)), (String ((Ascii (true,
-    true, false, false, false, false, true, false)), (String ((Ascii (true,
-    true, true, true, false, true, true, false)), (String ((Ascii (true,
-    false, true, false, true, true, true, false)), (String ((Ascii (false,
-    true, true, true, false, true, true, false)), (String ((Ascii (false,
-    false, true, false, true, true, true, false)), (String ((Ascii (false,
-    true, false, false, true, true, true, false)), (String ((Ascii (true,
-    false, false, true, true, true, true, false)), (String ((Ascii (true,
-    true, false, false, false, false, true, false)), (String ((Ascii (true,
-    true, true, true, false, true, true, false)), (String ((Ascii (false,
-    false, true, false, false, true, true, false)), (String ((Ascii (true,
-    false, true, false, false, true, true, false)),
-    EmptyString)))))))))))))))))))))))))))))))))))))))))))))))))), (S (S
-    O)))) :: ((SAlpha ((String ((Ascii (true, true, true, true, false, false,
-    true, false)), (String ((Ascii (false, true, false, false, true, true,
-    true, false)), (String ((Ascii (true, false, false, true, false, true,
-    true, false)), (String ((Ascii (true, true, true, false, false, true,
-    true, false)), (String ((Ascii (true, false, false, true, false, true,
-    true, false)), (String ((Ascii (false, true, true, true, false, true,
-    true, false)), (String ((Ascii (true, false, false, false, false, true,
-    true, false)), (String ((Ascii (false, false, true, false, true, true,
-    true, false)), (String ((Ascii (true, true, true, true, false, true,
-    true, false)), (String ((Ascii (false, true, false, false, true, true,
-    true, false)), (String ((Ascii (true, false, false, true, false, false,
-    true, false)), (String ((Ascii (false, false, true, false, false, true,
-    true, false)), (String ((Ascii (true, false, true, false, false, true,
-    true, false)), (String ((Ascii (false, true, true, true, false, true,
-    true, false)), (String ((Ascii (false, false, true, false, true, true,
-    true, false)), (String ((Ascii (true, false, false, true, false, true,
-    true, false)), (String ((Ascii (false, true, true, false, false, true,
-    true, false)), (String ((Ascii (true, false, false, true, false, true,
-    true, false)), (String ((Ascii (true, true, false, false, false, true,
-    true, false)), (String ((Ascii (true, false, false, false, false, true,
-    true, false)), (String ((Ascii (false, false, true, false, true, true,
-    true, false)), (String ((Ascii (true, false, false, true, false, true,
-    true, false)), (String ((Ascii (true, true, true, true, false, true,
-    true, false)), (String ((Ascii (false, true, true, true, false, true,
-    true, false)),
-    EmptyString)))))))))))))))))))))))))))))))))))))))))))))))), (S (S (S (S
-    (S (S (S (S (S (S O)))))))))))) :: ((SRaw (String ((Ascii (true, true,
-    false, false, true, false, true, false)), (String ((Ascii (false, false,
-    true, false, true, true, true, false)), (String ((Ascii (true, false,
-    false, false, false, true, true, false)), (String ((Ascii (false, true,
-    true, true, false, true, true, false)), (String ((Ascii (false, false,
-    true, false, false, true, true, false)), (String ((Ascii (true, false,
-    false, false, false, true, true, false)), (String ((Ascii (false, true,
-    false, false, true, true, true, false)), (String ((Ascii (false, false,
-    true, false, false, true, true, false)), (String ((Ascii (true, false,
-    true, false, false, false, true, false)), (String ((Ascii (false, true,
-    true, true, false, true, true, false)), (String ((Ascii (false, false,
-    true, false, true, true, true, false)), (String ((Ascii (false, true,
-    false, false, true, true, true, false)), (String ((Ascii (true, false,
-    false, true, true, true, true, false)), (String ((Ascii (true, true,
-    false, false, false, false, true, false)), (String ((Ascii (false, false,
-    true, true, false, true, true, false)), (String ((Ascii (true, false,
-    false, false, false, true, true, false)), (String ((Ascii (true, true,
-    false, false, true, true, true, false)), (String ((Ascii (true, true,
-    false, false, true, true, true, false)), (String ((Ascii (true, true,
-    false, false, false, false, true, false)), (String ((Ascii (true, true,
-    true, true, false, true, true, false)), (String ((Ascii (false, false,
-    true, false, false, true, true, false)), (String ((Ascii (true, false,
-    true, false, false, true, true, false)),
-    EmptyString))))))))))))))))))))))))))))))))))))))))))))) :: ((SAlpha
-    ((String ((Ascii (true, true, false, false, false, false, true, false)),
-    (String ((Ascii (true, true, true, true, false, true, true, false)),
-    (String ((Ascii (true, false, true, true, false, true, true, false)),
-    (String ((Ascii (false, false, false, false, true, true, true, false)),
-    (String ((Ascii (true, false, false, false, false, true, true, false)),
-    (String ((Ascii (false, true, true, true, false, true, true, false)),
-    (String ((Ascii (true, false, false, true, true, true, true, false)),
-    (String ((Ascii (true, false, true, false, false, false, true, false)),
-    (String ((Ascii (false, true, true, true, false, true, true, false)),
-    (String ((Ascii (false, false, true, false, true, true, true, false)),
-    (String ((Ascii (false, true, false, false, true, true, true, false)),
-    (String ((Ascii (true, false, false, true, true, true, true, false)),
-    (String ((Ascii (false, false, true, false, false, false, true, false)),
-    (String ((Ascii (true, false, true, false, false, true, true, false)),
-    (String ((Ascii (true, true, false, false, true, true, true, false)),
-    (String ((Ascii (true, true, false, false, false, true, true, false)),
-    (String ((Ascii (false, true, false, false, true, true, true, false)),
-    (String ((Ascii (true, false, false, true, false, true, true, false)),
-    (String ((Ascii (false, false, false, false, true, true, true, false)),
-    (String ((Ascii (false, false, true, false, true, true, true, false)),
-    (String ((Ascii (true, false, false, true, false, true, true, false)),
-    (String ((Ascii (true, true, true, true, false, true, true, false)),
-    (String ((Ascii (false, true, true, true, false, true, true, false)),
-    EmptyString)))))))))))))))))))))))))))))))))))))))))))))), (S (S (S (S (S
-    (S (S (S (S (S O)))))))))))) :: ((SAlpha ((String ((Ascii (true, false,
-    false, true, false, false, true, false)), (String ((Ascii (true, true,
-    false, false, true, false, true, false)), (String ((Ascii (true, true,
-    true, true, false, false, true, false)), (String ((Ascii (true, true,
-    true, true, false, false, true, false)), (String ((Ascii (false, true,
-    false, false, true, true, true, false)), (String ((Ascii (true, false,
-    false, true, false, true, true, false)), (String ((Ascii (true, true,
-    true, false, false, true, true, false)), (String ((Ascii (true, false,
-    false, true, false, true, true, false)), (String ((Ascii (false, true,
-    true, true, false, true, true, false)), (String ((Ascii (true, false,
-    false, false, false, true, true, false)), (String ((Ascii (false, false,
-    true, false, true, true, true, false)), (String ((Ascii (true, false,
-    false, true, false, true, true, false)), (String ((Ascii (false, true,
-    true, true, false, true, true, false)), (String ((Ascii (true, true,
-    true, false, false, true, true, false)), (String ((Ascii (true, true,
-    false, false, false, false, true, false)), (String ((Ascii (true, false,
-    true, false, true, true, true, false)), (String ((Ascii (false, true,
-    false, false, true, true, true, false)), (String ((Ascii (false, true,
-    false, false, true, true, true, false)), (String ((Ascii (true, false,
-    true, false, false, true, true, false)), (String ((Ascii (false, true,
-    true, true, false, true, true, false)), (String ((Ascii (true, true,
-    false, false, false, true, true, false)), (String ((Ascii (true, false,
-    false, true, true, true, true, false)), (String ((Ascii (true, true,
-    false, false, false, false, true, false)), (String ((Ascii (true, true,
-    true, true, false, true, true, false)), (String ((Ascii (false, false,
-    true, false, false, true, true, false)), (String ((Ascii (true, false,
-    true, false, false, true, true, false)),
-    EmptyString)))))))))))))))))))))))))))))))))))))))))))))))))))), (S (S (S
-    O))))) :: ((SAlpha ((String ((Ascii (true, false, false, true, false,
-    false, true, false)), (String ((Ascii (true, true, false, false, true,
-    false, true, false)), (String ((Ascii (true, true, true, true, false,
-    false, true, false)), (String ((Ascii (false, false, true, false, false,
-    false, true, false)), (String ((Ascii (true, false, true, false, false,
-    true, true, false)), (String ((Ascii (true, true, false, false, true,
-    true, true, false)), (String ((Ascii (false, false, true, false, true,
-    true, true, false)), (String ((Ascii (true, false, false, true, false,
-    true, true, false)), (String ((Ascii (false, true, true, true, false,
-    true, true, false)), (String ((Ascii (true, false, false, false, false,
-    true, true, false)), (String ((Ascii (false, false, true, false, true,
-    true, true, false)), (String ((Ascii (true, false, false, true, false,
-    true, true, false)), (String ((Ascii (true, true, true, true, false,
-    true, true, false)), (String ((Ascii (false, true, true, true, false,
-    true, true, false)), (String ((Ascii (true, true, false, false, false,
-    false, true, false)), (String ((Ascii (true, false, true, false, true,
-    true, true, false)), (String ((Ascii (false, true, false, false, true,
-    true, true, false)), (String ((Ascii (false, true, false, false, true,
-    true, true, false)), (String ((Ascii (true, false, true, false, false,
-    true, true, false)), (String ((Ascii (false, true, true, true, false,
-    true, true, false)), (String ((Ascii (true, true, false, false, false,
-    true, true, false)), (String ((Ascii (true, false, false, true, true,
-    true, true, false)), (String ((Ascii (true, true, false, false, false,
-    false, true, false)), (String ((Ascii (true, true, true, true, false,
-    true, true, false)), (String ((Ascii (false, false, true, false, false,
-    true, true, false)), (String ((Ascii (true, false, true, false, false,
-    true, true, false)),
-    EmptyString)))))))))))))))))))))))))))))))))))))))))))))))))))), (S (S (S
-    O))))) :: ((SStr ((String ((Ascii (true, false, true, false, false,
-    false, true, false)), (String ((Ascii (false, true, true, false, false,
-    true, true, false)), (String ((Ascii (false, true, true, false, false,
-    true, true, false)), (String ((Ascii (true, false, true, false, false,
-    true, true, false)), (String ((Ascii (true, true, false, false, false,
-    true, true, false)), (String ((Ascii (false, false, true, false, true,
-    true, true, false)), (String ((Ascii (true, false, false, true, false,
-    true, true, false)), (String ((Ascii (false, true, true, false, true,
-    true, true, false)), (String ((Ascii (true, false, true, false, false,
-    true, true, false)), (String ((Ascii (true, false, true, false, false,
-    false, true, false)), (String ((Ascii (false, true, true, true, false,
-    true, true, false)), (String ((Ascii (false, false, true, false, true,
-    true, true, false)), (String ((Ascii (false, true, false, false, true,
-    true, true, false)), (String ((Ascii (true, false, false, true, true,
-    true, true, false)), (String ((Ascii (false, false, true, false, false,
-    false, true, false)), (String ((Ascii (true, false, false, false, false,
-    true, true, false)), (String ((Ascii (false, false, true, false, true,
-    true, true, false)), (String ((Ascii (true, false, true, false, false,
-    true, true, false)), EmptyString)))))))))))))))))))))))))))))))))))), (S
-    (S (S (S (S (S O)))))))) :: ((SAlpha ((String ((Ascii (true, true, false,
-    false, true, false, true, false)), (String ((Ascii (true, false, true,
-    false, false, true, true, false)), (String ((Ascii (false, false, true,
-    false, true, true, true, false)), (String ((Ascii (false, false, true,
-    false, true, true, true, false)), (String ((Ascii (false, false, true,
-    true, false, true, true, false)), (String ((Ascii (true, false, true,
-    false, false, true, true, false)), (String ((Ascii (true, false, true,
-    true, false, true, true, false)), (String ((Ascii (true, false, true,
-    false, false, true, true, false)), (String ((Ascii (false, true, true,
-    true, false, true, true, false)), (String ((Ascii (false, false, true,
-    false, true, true, true, false)), (String ((Ascii (false, false, true,
-    false, false, false, true, false)), (String ((Ascii (true, false, false,
-    false, false, true, true, false)), (String ((Ascii (false, false, true,
-    false, true, true, true, false)), (String ((Ascii (true, false, true,
-    false, false, true, true, false)),
-    EmptyString)))))))))))))))))))))))))))), (S (S (S O))))) :: ((SItoa
-    (String ((Ascii (true, true, true, true, false, false, true, false)),
-    (String ((Ascii (false, true, false, false, true, true, true, false)),
-    (String ((Ascii (true, false, false, true, false, true, true, false)),
-    (String ((Ascii (true, true, true, false, false, true, true, false)),
-    (String ((Ascii (true, false, false, true, false, true, true, false)),
-    (String ((Ascii (false, true, true, true, false, true, true, false)),
-    (String ((Ascii (true, false, false, false, false, true, true, false)),
-    (String ((Ascii (false, false, true, false, true, true, true, false)),
-    (String ((Ascii (true, true, true, true, false, true, true, false)),
-    (String ((Ascii (false, true, false, false, true, true, true, false)),
-    (String ((Ascii (true, true, false, false, true, false, true, false)),
-    (String ((Ascii (false, false, true, false, true, true, true, false)),
-    (String ((Ascii (true, false, false, false, false, true, true, false)),
-    (String ((Ascii (false, false, true, false, true, true, true, false)),
-    (String ((Ascii (true, false, true, false, true, true, true, false)),
-    (String ((Ascii (true, true, false, false, true, true, true, false)),
-    (String ((Ascii (true, true, false, false, false, false, true, false)),
-    (String ((Ascii (true, true, true, true, false, true, true, false)),
-    (String ((Ascii (false, false, true, false, false, true, true, false)),
-    (String ((Ascii (true, false, true, false, false, true, true, false)),
-    EmptyString))))))))))))))))))))))))))))))))))))))))) :: ((SStr ((String
-    ((Ascii (true, true, true, true, false, false, true, false)), (String
-    ((Ascii (false, false, true, false, false, false, true, false)), (String
-    ((Ascii (false, true, true, false, false, false, true, false)), (String
-    ((Ascii (true, false, false, true, false, false, true, false)), (String
-    ((Ascii (true, false, false, true, false, false, true, false)), (String
-    ((Ascii (false, false, true, false, false, true, true, false)), (String
-    ((Ascii (true, false, true, false, false, true, true, false)), (String
-    ((Ascii (false, true, true, true, false, true, true, false)), (String
-    ((Ascii (false, false, true, false, true, true, true, false)), (String
-    ((Ascii (true, false, false, true, false, true, true, false)), (String
-    ((Ascii (false, true, true, false, false, true, true, false)), (String
-    ((Ascii (true, false, false, true, false, true, true, false)), (String
-    ((Ascii (true, true, false, false, false, true, true, false)), (String
-    ((Ascii (true, false, false, false, false, true, true, false)), (String
-    ((Ascii (false, false, true, false, true, true, true, false)), (String
-    ((Ascii (true, false, false, true, false, true, true, false)), (String
-    ((Ascii (true, true, true, true, false, true, true, false)), (String
-    ((Ascii (false, true, true, true, false, true, true, false)),
-    EmptyString)))))))))))))))))))))))))))))))))))), (S (S (S (S (S (S (S (S
-    O)))))))))) :: ((SNum ((String ((Ascii (false, true, false, false, false,
-    false, true, false)), (String ((Ascii (true, false, false, false, false,
-    true, true, false)), (String ((Ascii (false, false, true, false, true,
-    true, true, false)), (String ((Ascii (true, true, false, false, false,
-    true, true, false)), (String ((Ascii (false, false, false, true, false,
-    true, true, false)), (String ((Ascii (false, true, true, true, false,
-    false, true, false)), (String ((Ascii (true, false, true, false, true,
-    true, true, false)), (String ((Ascii (true, false, true, true, false,
-    true, true, false)), (String ((Ascii (false, true, false, false, false,
-    true, true, false)), (String ((Ascii (true, false, true, false, false,
-    true, true, false)), (String ((Ascii (false, true, false, false, true,
-    true, true, false)), EmptyString)))))))))))))))))))))), (S (S (S (S (S (S
-    (S O))))))))) :: []))))))))))))))))); l_cuts =
-    ((mkcut O (S O) EmptyString []) :: ((mkcut (S O) (S (S (S (S O))))
-                                          (String ((Ascii (true, true, false,
-                                          false, true, false, true, false)),
-                                          (String ((Ascii (true, false, true,
-                                          false, false, true, true, false)),
-                                          (String ((Ascii (false, true,
-                                          false, false, true, true, true,
-                                          false)), (String ((Ascii (false,
-                                          true, true, false, true, true,
-                                          true, false)), (String ((Ascii
-                                          (true, false, false, true, false,
-                                          true, true, false)), (String
-                                          ((Ascii (true, true, false, false,
-                                          false, true, true, false)), (String
-                                          ((Ascii (true, false, true, false,
-                                          false, true, true, false)), (String
-                                          ((Ascii (true, true, false, false,
-                                          false, false, true, false)),
-                                          (String ((Ascii (false, false,
-                                          true, true, false, true, true,
-                                          false)), (String ((Ascii (true,
-                                          false, false, false, false, true,
-                                          true, false)), (String ((Ascii
-                                          (true, true, false, false, true,
-                                          true, true, false)), (String
-                                          ((Ascii (true, true, false, false,
-                                          true, true, true, false)), (String
-                                          ((Ascii (true, true, false, false,
-                                          false, false, true, false)),
-                                          (String ((Ascii (true, true, true,
-                                          true, false, true, true, false)),
-                                          (String ((Ascii (false, false,
-                                          true, false, false, true, true,
-                                          false)), (String ((Ascii (true,
-                                          false, true, false, false, true,
-                                          true, false)),
-                                          EmptyString))))))))))))))))))))))))))))))))
-                                          ((String ((Ascii (false, false,
-                                          false, false, true, true, true,
-                                          false)), (String ((Ascii (true,
-                                          false, false, false, false, true,
-                                          true, false)), (String ((Ascii
-                                          (false, true, false, false, true,
-                                          true, true, false)), (String
-                                          ((Ascii (true, true, false, false,
-                                          true, true, true, false)), (String
-                                          ((Ascii (true, false, true, false,
-                                          false, true, true, false)), (String
-                                          ((Ascii (false, true, true, true,
-                                          false, false, true, false)),
-                                          (String ((Ascii (true, false, true,
-                                          false, true, true, true, false)),
-                                          (String ((Ascii (true, false, true,
-                                          true, false, true, true, false)),
-                                          (String ((Ascii (false, true, true,
-                                          false, false, false, true, false)),
-                                          (String ((Ascii (true, false,
-                                          false, true, false, true, true,
-                                          false)), (String ((Ascii (true,
-                                          false, true, false, false, true,
-                                          true, false)), (String ((Ascii
-                                          (false, false, true, true, false,
-                                          true, true, false)), (String
-                                          ((Ascii (false, false, true, false,
-                                          false, true, true, false)),
-                                          EmptyString)))))))))))))))))))))))))) :: [])) :: (
-    (mkcut (S (S (S (S O)))) (S (S (S (S (S (S (S (S (S (S (S (S (S (S (S (S
-      (S (S (S (S O)))))))))))))))))))) (String ((Ascii (true, false, false,
-      true, false, false, true, false)), (String ((Ascii (true, false, false,
-      false, false, false, true, false)), (String ((Ascii (false, false,
-      true, false, true, false, true, false)), (String ((Ascii (true, false,
-      false, true, false, false, true, false)), (String ((Ascii (false, true,
-      true, true, false, true, true, false)), (String ((Ascii (false, false,
-      true, false, false, true, true, false)), (String ((Ascii (true, false,
-      false, true, false, true, true, false)), (String ((Ascii (true, true,
-      false, false, false, true, true, false)), (String ((Ascii (true, false,
-      false, false, false, true, true, false)), (String ((Ascii (false,
-      false, true, false, true, true, true, false)), (String ((Ascii (true,
-      true, true, true, false, true, true, false)), (String ((Ascii (false,
-      true, false, false, true, true, true, false)),
-      EmptyString)))))))))))))))))))))))) ((String ((Ascii (false, false,
-      false, false, true, true, true, false)), (String ((Ascii (true, false,
-      false, false, false, true, true, false)), (String ((Ascii (false, true,
-      false, false, true, true, true, false)), (String ((Ascii (true, true,
-      false, false, true, true, true, false)), (String ((Ascii (true, false,
-      true, false, false, true, true, false)), (String ((Ascii (true, true,
-      false, false, true, false, true, false)), (String ((Ascii (false,
-      false, true, false, true, true, true, false)), (String ((Ascii (false,
-      true, false, false, true, true, true, false)), (String ((Ascii (true,
-      false, false, true, false, true, true, false)), (String ((Ascii (false,
-      true, true, true, false, true, true, false)), (String ((Ascii (true,
-      true, true, false, false, true, true, false)), (String ((Ascii (false,
-      true, true, false, false, false, true, false)), (String ((Ascii (true,
-      false, false, true, false, true, true, false)), (String ((Ascii (true,
-      false, true, false, false, true, true, false)), (String ((Ascii (false,
-      false, true, true, false, true, true, false)), (String ((Ascii (false,
-      false, true, false, false, true, true, false)),
-      EmptyString)))))))))))))))))))))))))))))))) :: [])) :: ((mkcut (S (S (S
-                                                                (S (S (S (S
-                                                                (S (S (S (S
-                                                                (S (S (S (S
-                                                                (S (S (S (S
-                                                                (S
-                                                                O))))))))))))))))))))
-                                                                (S (S (S (S
-                                                                (S (S (S (S
-                                                                (S (S (S (S
-                                                                (S (S (S (S
-                                                                (S (S (S (S
-                                                                (S (S
-                                                                O))))))))))))))))))))))
-                                                                (String
-                                                                ((Ascii
-                                                                (false, true,
-                                                                true, false,
-                                                                false, false,
-                                                                true,
-                                                                false)),
-                                                                (String
-                                                                ((Ascii
-                                                                (true, true,
-                                                                true, true,
-                                                                false, true,
-                                                                true,
-                                                                false)),
-                                                                (String
-                                                                ((Ascii
-                                                                (false, true,
-                                                                false, false,
-                                                                true, true,
-                                                                true,
-                                                                false)),
-                                                                (String
-                                                                ((Ascii
-                                                                (true, false,
-                                                                true, false,
-                                                                false, true,
-                                                                true,
-                                                                false)),
-                                                                (String
-                                                                ((Ascii
-                                                                (true, false,
-                                                                false, true,
-                                                                false, true,
-                                                                true,
-                                                                false)),
-                                                                (String
-                                                                ((Ascii
-                                                                (true, true,
-                                                                true, false,
-                                                                false, true,
-                                                                true,
-                                                                false)),
-                                                                (String
-                                                                ((Ascii
-                                                                (false, true,
-                                                                true, true,
-                                                                false, true,
-                                                                true,
-                                                                false)),
-                                                                (String
-                                                                ((Ascii
-                                                                (true, false,
-                                                                true, false,
-                                                                false, false,
-                                                                true,
-                                                                false)),
-                                                                (String
-                                                                ((Ascii
-                                                                (false,
-                                                                false, false,
-                                                                true, true,
-                                                                true, true,
-                                                                false)),
-                                                                (String
-                                                                ((Ascii
-                                                                (true, true,
-                                                                false, false,
-                                                                false, true,
-                                                                true,
-                                                                false)),
-                                                                (String
-                                                                ((Ascii
-                                                                (false,
-                                                                false, false,
-                                                                true, false,
-                                                                true, true,
-                                                                false)),
-                                                                (String
-                                                                ((Ascii
-                                                                (true, false,
-                                                                false, false,
-                                                                false, true,
-                                                                true,
-                                                                false)),
-                                                                (String
-                                                                ((Ascii
-                                                                (false, true,
-                                                                true, true,
-                                                                false, true,
-                                                                true,
-                                                                false)),
-                                                                (String
-                                                                ((Ascii
-                                                                (true, true,
-                                                                true, false,
-                                                                false, true,
-                                                                true,
-                                                                false)),
-                                                                (String
-                                                                ((Ascii
-                                                                (true, false,
-                                                                true, false,
-                                                                false, true,
-                                                                true,
-                                                                false)),
-                                                                (String
-                                                                ((Ascii
-                                                                (true, false,
-                                                                false, true,
-                                                                false, false,
-                                                                true,
-                                                                false)),
-                                                                (String
-                                                                ((Ascii
-                                                                (false, true,
-                                                                true, true,
-                                                                false, true,
-                                                                true,
-                                                                false)),
-                                                                (String
-                                                                ((Ascii
-                                                                (false,
-                                                                false, true,
-                                                                false, false,
-                                                                true, true,
-                                                                false)),
-                                                                (String
-                                                                ((Ascii
-                                                                (true, false,
-                                                                false, true,
-                                                                false, true,
-                                                                true,
-                                                                false)),
-                                                                (String
-                                                                ((Ascii
-                                                                (true, true,
-                                                                false, false,
-                                                                false, true,
-                                                                true,
-                                                                false)),
-                                                                (String
-                                                                ((Ascii
-                                                                (true, false,
-                                                                false, false,
-                                                                false, true,
-                                                                true,
-                                                                false)),
-                                                                (String
-                                                                ((Ascii
-                                                                (false,
-                                                                false, true,
-                                                                false, true,
-                                                                true, true,
-                                                                false)),
-                                                                (String
-                                                                ((Ascii
-                                                                (true, true,
-                                                                true, true,
-                                                                false, true,
-                                                                true,
-                                                                false)),
-                                                                (String
-                                                                ((Ascii
-                                                                (false, true,
-                                                                false, false,
-                                                                true, true,
-                                                                true,
-                                                                false)),
-                                                                EmptyString))))))))))))))))))))))))))))))))))))))))))))))))
-                                                                ((String
-                                                                ((Ascii
-                                                                (false,
-                                                                false, false,
-                                                                false, true,
-                                                                true, true,
-                                                                false)),
-                                                                (String
-                                                                ((Ascii
-                                                                (true, false,
-                                                                false, false,
-                                                                false, true,
-                                                                true,
-                                                                false)),
-                                                                (String
-                                                                ((Ascii
-                                                                (false, true,
-                                                                false, false,
-                                                                true, true,
-                                                                true,
-                                                                false)),
-                                                                (String
-                                                                ((Ascii
-                                                                (true, true,
-                                                                false, false,
-                                                                true, true,
-                                                                true,
-                                                                false)),
-                                                                (String
-                                                                ((Ascii
-                                                                (true, false,
-                                                                true, false,
-                                                                false, true,
-                                                                true,
-                                                                false)),
-                                                                (String
-                                                                ((Ascii
-                                                                (true, true,
-                                                                false, false,
-                                                                true, false,
-                                                                true,
-                                                                false)),
-                                                                (String
-                                                                ((Ascii
-                                                                (false,
-                                                                false, true,
-                                                                false, true,
-                                                                true, true,
-                                                                false)),
-                                                                (String
-                                                                ((Ascii
-                                                                (false, true,
-                                                                false, false,
-                                                                true, true,
-                                                                true,
-                                                                false)),
-                                                                (String
-                                                                ((Ascii
-                                                                (true, false,
-                                                                false, true,
-                                                                false, true,
-                                                                true,
-                                                                false)),
-                                                                (String
-                                                                ((Ascii
-                                                                (false, true,
-                                                                true, true,
-                                                                false, true,
-                                                                true,
-                                                                false)),
-                                                                (String
-                                                                ((Ascii
-                                                                (true, true,
-                                                                true, false,
-                                                                false, true,
-                                                                true,
-                                                                false)),
-                                                                (String
-                                                                ((Ascii
-                                                                (false, true,
-                                                                true, false,
-                                                                false, false,
-                                                                true,
-                                                                false)),
-                                                                (String
-                                                                ((Ascii
-                                                                (true, false,
-                                                                false, true,
-                                                                false, true,
-                                                                true,
-                                                                false)),
-                                                                (String
-                                                                ((Ascii
-                                                                (true, false,
-                                                                true, false,
-                                                                false, true,
-                                                                true,
-                                                                false)),
-                                                                (String
-                                                                ((Ascii
-                                                                (false,
-                                                                false, true,
-                                                                true, false,
-                                                                true, true,
-                                                                false)),
-                                                                (String
-                                                                ((Ascii
-                                                                (false,
-                                                                false, true,
-                                                                false, false,
-                                                                true, true,
-                                                                false)),
-                                                                EmptyString)))))))))))))))))))))))))))))))) :: [])) :: (
-    (mkcut (S (S (S (S (S (S (S (S (S (S (S (S (S (S (S (S (S (S (S (S (S (S
-      O)))))))))))))))))))))) (S (S (S (S (S (S (S (S (S (S (S (S (S (S (S (S
-      (S (S (S (S (S (S (S O))))))))))))))))))))))) (String ((Ascii (false,
-      true, true, false, false, false, true, false)), (String ((Ascii (true,
-      true, true, true, false, true, true, false)), (String ((Ascii (false,
-      true, false, false, true, true, true, false)), (String ((Ascii (true,
-      false, true, false, false, true, true, false)), (String ((Ascii (true,
-      false, false, true, false, true, true, false)), (String ((Ascii (true,
-      true, true, false, false, true, true, false)), (String ((Ascii (false,
-      true, true, true, false, true, true, false)), (String ((Ascii (true,
-      false, true, false, false, false, true, false)), (String ((Ascii
-      (false, false, false, true, true, true, true, false)), (String ((Ascii
-      (true, true, false, false, false, true, true, false)), (String ((Ascii
-      (false, false, false, true, false, true, true, false)), (String ((Ascii
-      (true, false, false, false, false, true, true, false)), (String ((Ascii
-      (false, true, true, true, false, true, true, false)), (String ((Ascii
-      (true, true, true, false, false, true, true, false)), (String ((Ascii
-      (true, false, true, false, false, true, true, false)), (String ((Ascii
-      (false, true, false, false, true, false, true, false)), (String ((Ascii
-      (true, false, true, false, false, true, true, false)), (String ((Ascii
-      (false, true, true, false, false, true, true, false)), (String ((Ascii
-      (true, false, true, false, false, true, true, false)), (String ((Ascii
-      (false, true, false, false, true, true, true, false)), (String ((Ascii
-      (true, false, true, false, false, true, true, false)), (String ((Ascii
-      (false, true, true, true, false, true, true, false)), (String ((Ascii
-      (true, true, false, false, false, true, true, false)), (String ((Ascii
-      (true, false, true, false, false, true, true, false)), (String ((Ascii
-      (true, false, false, true, false, false, true, false)), (String ((Ascii
-      (false, true, true, true, false, true, true, false)), (String ((Ascii
-      (false, false, true, false, false, true, true, false)), (String ((Ascii
-      (true, false, false, true, false, true, true, false)), (String ((Ascii
-      (true, true, false, false, false, true, true, false)), (String ((Ascii
-      (true, false, false, false, false, true, true, false)), (String ((Ascii
-      (false, false, true, false, true, true, true, false)), (String ((Ascii
-      (true, true, true, true, false, true, true, false)), (String ((Ascii
-      (false, true, false, false, true, true, true, false)),
-      EmptyString))))))))))))))))))))))))))))))))))))))))))))))))))))))))))))))))))
-      ((String ((Ascii (false, false, false, false, true, true, true,
-      false)), (String ((Ascii (true, false, false, false, false, true, true,
-      false)), (String ((Ascii (false, true, false, false, true, true, true,
-      false)), (String ((Ascii (true, true, false, false, true, true, true,
-      false)), (String ((Ascii (true, false, true, false, false, true, true,
-      false)), (String ((Ascii (false, true, true, true, false, false, true,
-      false)), (String ((Ascii (true, false, true, false, true, true, true,
-      false)), (String ((Ascii (true, false, true, true, false, true, true,
-      false)), (String ((Ascii (false, true, true, false, false, false, true,
-      false)), (String ((Ascii (true, false, false, true, false, true, true,
-      false)), (String ((Ascii (true, false, true, false, false, true, true,
-      false)), (String ((Ascii (false, false, true, true, false, true, true,
-      false)), (String ((Ascii (false, false, true, false, false, true, true,
-      false)), EmptyString)))))))))))))))))))))))))) :: [])) :: ((mkcut (S (S
-                                                                   (S (S (S
-                                                                   (S (S (S
-                                                                   (S (S (S
-                                                                   (S (S (S
-                                                                   (S (S (S
-                                                                   (S (S (S
-                                                                   (S (S (S
-                                                                   O)))))))))))))))))))))))
-                                                                   (S (S (S
-                                                                   (S (S (S
-                                                                   (S (S (S
-                                                                   (S (S (S
-                                                                   (S (S (S
-                                                                   (S (S (S
-                                                                   (S (S (S
-                                                                   (S (S (S
-                                                                   (S (S (S
-                                                                   (S (S (S
-                                                                   (S (S (S
-                                                                   (S (S (S
-                                                                   (S (S
-                                                                   O))))))))))))))))))))))))))))))))))))))
-                                                                   (String
-                                                                   ((Ascii
-                                                                   (false,
-                                                                   true,
-                                                                   true,
-                                                                   false,
-                                                                   false,
-                                                                   false,
-                                                                   true,
-                                                                   false)),
-                                                                   (String
-                                                                   ((Ascii
-                                                                   (true,
-                                                                   true,
-                                                                   true,
-                                                                   true,
-                                                                   false,
-                                                                   true,
-                                                                   true,
-                                                                   false)),
-                                                                   (String
-                                                                   ((Ascii
-                                                                   (false,
-                                                                   true,
-                                                                   false,
-                                                                   false,
-                                                                   true,
-                                                                   true,
-                                                                   true,
-                                                                   false)),
-                                                                   (String
-                                                                   ((Ascii
-                                                                   (true,
-                                                                   false,
-                                                                   true,
-                                                                   false,
-                                                                   false,
-                                                                   true,
-                                                                   true,
-                                                                   false)),
-                                                                   (String
-                                                                   ((Ascii
-                                                                   (true,
-                                                                   false,
-                                                                   false,
-                                                                   true,
-                                                                   false,
-                                                                   true,
-                                                                   true,
-                                                                   false)),
-                                                                   (String
-                                                                   ((Ascii
-                                                                   (true,
-                                                                   true,
-                                                                   true,
-                                                                   false,
-                                                                   false,
-                                                                   true,
-                                                                   true,
-                                                                   false)),
-                                                                   (String
-                                                                   ((Ascii
-                                                                   (false,
-                                                                   true,
-                                                                   true,
-                                                                   true,
-                                                                   false,
-                                                                   true,
-                                                                   true,
-                                                                   false)),
-                                                                   (String
-                                                                   ((Ascii
-                                                                   (true,
-                                                                   false,
-                                                                   true,
-                                                                   false,
-                                                                   false,
-                                                                   false,
-                                                                   true,
-                                                                   false)),
-                                                                   (String
-                                                                   ((Ascii
-                                                                   (false,
-                                                                   false,
-                                                                   false,
-                                                                   true,
-                                                                   true,
-                                                                   true,
-                                                                   true,
-                                                                   false)),
-                                                                   (String
-                                                                   ((Ascii
-                                                                   (true,
-                                                                   true,
-                                                                   false,
-                                                                   false,
-                                                                   false,
-                                                                   true,
-                                                                   true,
-                                                                   false)),
-                                                                   (String
-                                                                   ((Ascii
-                                                                   (false,
-                                                                   false,
-                                                                   false,
-                                                                   true,
-                                                                   false,
-                                                                   true,
-                                                                   true,
-                                                                   false)),
-                                                                   (String
-                                                                   ((Ascii
-                                                                   (true,
-                                                                   false,
-                                                                   false,
-                                                                   false,
-                                                                   false,
-                                                                   true,
-                                                                   true,
-                                                                   false)),
-                                                                   (String
-                                                                   ((Ascii
-                                                                   (false,
-                                                                   true,
-                                                                   true,
-                                                                   true,
-                                                                   false,
-                                                                   true,
-                                                                   true,
-                                                                   false)),
-                                                                   (String
-                                                                   ((Ascii
-                                                                   (true,
-                                                                   true,
-                                                                   true,
-                                                                   false,
-                                                                   false,
-                                                                   true,
-                                                                   true,
-                                                                   false)),
-                                                                   (String
-                                                                   ((Ascii
-                                                                   (true,
-                                                                   false,
-                                                                   true,
-                                                                   false,
-                                                                   false,
-                                                                   true,
-                                                                   true,
-                                                                   false)),
-                                                                   (String
-                                                                   ((Ascii
-                                                                   (false,
-                                                                   true,
-                                                                   false,
-                                                                   false,
-                                                                   true,
-                                                                   false,
-                                                                   true,
-                                                                   false)),
-                                                                   (String
-                                                                   ((Ascii
-                                                                   (true,
-                                                                   false,
-                                                                   true,
-                                                                   false,
-                                                                   false,
-                                                                   true,
-                                                                   true,
-                                                                   false)),
-                                                                   (String
-                                                                   ((Ascii
-                                                                   (false,
-                                                                   true,
-                                                                   true,
-                                                                   false,
-                                                                   false,
-                                                                   true,
-                                                                   true,
-                                                                   false)),
-                                                                   (String
-                                                                   ((Ascii
-                                                                   (true,
-                                                                   false,
-                                                                   true,
-                                                                   false,
-                                                                   false,
-                                                                   true,
-                                                                   true,
-                                                                   false)),
-                                                                   (String
-                                                                   ((Ascii
-                                                                   (false,
-                                                                   true,
-                                                                   false,
-                                                                   false,
-                                                                   true,
-                                                                   true,
-                                                                   true,
-                                                                   false)),
-                                                                   (String
-                                                                   ((Ascii
-                                                                   (true,
-                                                                   false,
-                                                                   true,
-                                                                   false,
-                                                                   false,
-                                                                   true,
-                                                                   true,
-                                                                   false)),
-                                                                   (String
-                                                                   ((Ascii
-                                                                   (false,
-                                                                   true,
-                                                                   true,
-                                                                   true,
-                                                                   false,
-                                                                   true,
-                                                                   true,
-                                                                   false)),
-                                                                   (String
-                                                                   ((Ascii
-                                                                   (true,
-                                                                   true,
-                                                                   false,
-                                                                   false,
-                                                                   false,
-                                                                   true,
-                                                                   true,
-                                                                   false)),
-                                                                   (String
-                                                                   ((Ascii
-                                                                   (true,
-                                                                   false,
-                                                                   true,
-                                                                   false,
-                                                                   false,
-                                                                   true,
-                                                                   true,
-                                                                   false)),
-                                                                   EmptyString))))))))))))))))))))))))))))))))))))))))))))))))
-                                                                   ((String
-                                                                   ((Ascii
-                                                                   (false,
-                                                                   false,
-                                                                   false,
-                                                                   false,
-                                                                   true,
-                                                                   true,
-                                                                   true,
-                                                                   false)),
-                                                                   (String
-                                                                   ((Ascii
-                                                                   (true,
-                                                                   false,
-                                                                   false,
-                                                                   false,
-                                                                   false,
-                                                                   true,
-                                                                   true,
-                                                                   false)),
-                                                                   (String
-                                                                   ((Ascii
-                                                                   (false,
-                                                                   true,
-                                                                   false,
-                                                                   false,
-                                                                   true,
-                                                                   true,
-                                                                   true,
-                                                                   false)),
-                                                                   (String
-                                                                   ((Ascii
-                                                                   (true,
-                                                                   true,
-                                                                   false,
-                                                                   false,
-                                                                   true,
-                                                                   true,
-                                                                   true,
-                                                                   false)),
-                                                                   (String
-                                                                   ((Ascii
-                                                                   (true,
-                                                                   false,
-                                                                   true,
-                                                                   false,
-                                                                   false,
-                                                                   true,
-                                                                   true,
-                                                                   false)),
-                                                                   (String
-                                                                   ((Ascii
-                                                                   (true,
-                                                                   true,
-                                                                   false,
-                                                                   false,
-                                                                   true,
-                                                                   false,
-                                                                   true,
-                                                                   false)),
-                                                                   (String
-                                                                   ((Ascii
-                                                                   (false,
-                                                                   false,
-                                                                   true,
-                                                                   false,
-                                                                   true,
-                                                                   true,
-                                                                   true,
-                                                                   false)),
-                                                                   (String
-                                                                   ((Ascii
-                                                                   (false,
-                                                                   true,
-                                                                   false,
-                                                                   false,
-                                                                   true,
-                                                                   true,
-                                                                   true,
-                                                                   false)),
-                                                                   (String
-                                                                   ((Ascii
-                                                                   (true,
-                                                                   false,
-                                                                   false,
-                                                                   true,
-                                                                   false,
-                                                                   true,
-                                                                   true,
-                                                                   false)),
-                                                                   (String
-                                                                   ((Ascii
-                                                                   (false,
-                                                                   true,
-                                                                   true,
-                                                                   true,
-                                                                   false,
-                                                                   true,
-                                                                   true,
-                                                                   false)),
-                                                                   (String
-                                                                   ((Ascii
-                                                                   (true,
-                                                                   true,
-                                                                   true,
-                                                                   false,
-                                                                   false,
-                                                                   true,
-                                                                   true,
-                                                                   false)),
-                                                                   (String
-                                                                   ((Ascii
-                                                                   (false,
-                                                                   true,
-                                                                   true,
-                                                                   false,
-                                                                   false,
-                                                                   false,
-                                                                   true,
-                                                                   false)),
-                                                                   (String
-                                                                   ((Ascii
-                                                                   (true,
-                                                                   false,
-                                                                   false,
-                                                                   true,
-                                                                   false,
-                                                                   true,
-                                                                   true,
-                                                                   false)),
-                                                                   (String
-                                                                   ((Ascii
-                                                                   (true,
-                                                                   false,
-                                                                   true,
-                                                                   false,
-                                                                   false,
-                                                                   true,
-                                                                   true,
-                                                                   false)),
-                                                                   (String
-                                                                   ((Ascii
-                                                                   (false,
-                                                                   false,
-                                                                   true,
-                                                                   true,
-                                                                   false,
-                                                                   true,
-                                                                   true,
-                                                                   false)),
-                                                                   (String
-                                                                   ((Ascii
-                                                                   (false,
-                                                                   false,
-                                                                   true,
-                                                                   false,
-                                                                   false,
-                                                                   true,
-                                                                   true,
-                                                                   false)),
-                                                                   EmptyString)))))))))))))))))))))))))))))))) :: [])) :: (
-    (mkcut (S (S (S (S (S (S (S (S (S (S (S (S (S (S (S (S (S (S (S (S (S (S
-      (S (S (S (S (S (S (S (S (S (S (S (S (S (S (S (S
-      O)))))))))))))))))))))))))))))))))))))) (S (S (S (S (S (S (S (S (S (S
-      (S (S (S (S (S (S (S (S (S (S (S (S (S (S (S (S (S (S (S (S (S (S (S (S
-      (S (S (S (S (S (S O)))))))))))))))))))))))))))))))))))))))) (String
-      ((Ascii (true, false, false, true, false, false, true, false)), (String
-      ((Ascii (true, true, false, false, true, false, true, false)), (String
-      ((Ascii (true, true, true, true, false, false, true, false)), (String
-      ((Ascii (false, false, true, false, false, false, true, false)),
-      (String ((Ascii (true, false, true, false, false, true, true, false)),
-      (String ((Ascii (true, true, false, false, true, true, true, false)),
-      (String ((Ascii (false, false, true, false, true, true, true, false)),
-      (String ((Ascii (true, false, false, true, false, true, true, false)),
-      (String ((Ascii (false, true, true, true, false, true, true, false)),
-      (String ((Ascii (true, false, false, false, false, true, true, false)),
-      (String ((Ascii (false, false, true, false, true, true, true, false)),
-      (String ((Ascii (true, false, false, true, false, true, true, false)),
-      (String ((Ascii (true, true, true, true, false, true, true, false)),
-      (String ((Ascii (false, true, true, true, false, true, true, false)),
-      (String ((Ascii (true, true, false, false, false, false, true, false)),
-      (String ((Ascii (true, true, true, true, false, true, true, false)),
-      (String ((Ascii (true, false, true, false, true, true, true, false)),
-      (String ((Ascii (false, true, true, true, false, true, true, false)),
-      (String ((Ascii (false, false, true, false, true, true, true, false)),
-      (String ((Ascii (false, true, false, false, true, true, true, false)),
-      (String ((Ascii (true, false, false, true, true, true, true, false)),
-      (String ((Ascii (true, true, false, false, false, false, true, false)),
-      (String ((Ascii (true, true, true, true, false, true, true, false)),
-      (String ((Ascii (false, false, true, false, false, true, true, false)),
-      (String ((Ascii (true, false, true, false, false, true, true, false)),
-      EmptyString)))))))))))))))))))))))))))))))))))))))))))))))))) ((String
-      ((Ascii (false, false, false, false, true, true, true, false)), (String
-      ((Ascii (true, false, false, false, false, true, true, false)), (String
-      ((Ascii (false, true, false, false, true, true, true, false)), (String
-      ((Ascii (true, true, false, false, true, true, true, false)), (String
-      ((Ascii (true, false, true, false, false, true, true, false)), (String
-      ((Ascii (true, true, false, false, true, false, true, false)), (String
-      ((Ascii (false, false, true, false, true, true, true, false)), (String
-      ((Ascii (false, true, false, false, true, true, true, false)), (String
-      ((Ascii (true, false, false, true, false, true, true, false)), (String
-      ((Ascii (false, true, true, true, false, true, true, false)), (String
-      ((Ascii (true, true, true, false, false, true, true, false)), (String
-      ((Ascii (false, true, true, false, false, false, true, false)), (String
-      ((Ascii (true, false, false, true, false, true, true, false)), (String
-      ((Ascii (true, false, true, false, false, true, true, false)), (String
-      ((Ascii (false, false, true, true, false, true, true, false)), (String
-      ((Ascii (false, false, true, false, false, true, true, false)),
-      EmptyString)))))))))))))))))))))))))))))))) :: [])) :: ((mkcut (S (S (S
-                                                                (S (S (S (S
-                                                                (S (S (S (S
-                                                                (S (S (S (S
-                                                                (S (S (S (S
-                                                                (S (S (S (S
-                                                                (S (S (S (S
-                                                                (S (S (S (S
-                                                                (S (S (S (S
-                                                                (S (S (S (S
-                                                                (S
-                                                                O))))))))))))))))))))))))))))))))))))))))
-                                                                (S (S (S (S
-                                                                (S (S (S (S
-                                                                (S (S (S (S
-                                                                (S (S (S (S
-                                                                (S (S (S (S
-                                                                (S (S (S (S
-                                                                (S (S (S (S
-                                                                (S (S (S (S
-                                                                (S (S (S (S
-                                                                (S (S (S (S
-                                                                (S (S (S (S
-                                                                (S (S (S (S
-                                                                (S (S
-                                                                O))))))))))))))))))))))))))))))))))))))))))))))))))
-                                                                (String
-                                                                ((Ascii
-                                                                (true, true,
-                                                                true, true,
-                                                                false, false,
-                                                                true,
-                                                                false)),
-                                                                (String
-                                                                ((Ascii
-                                                                (false, true,
-                                                                false, false,
-                                                                true, true,
-                                                                true,
-                                                                false)),
-                                                                (String
-                                                                ((Ascii
-                                                                (true, false,
-                                                                false, true,
-                                                                false, true,
-                                                                true,
-                                                                false)),
-                                                                (String
-                                                                ((Ascii
-                                                                (true, true,
-                                                                true, false,
-                                                                false, true,
-                                                                true,
-                                                                false)),
-                                                                (String
-                                                                ((Ascii
-                                                                (true, false,
-                                                                false, true,
-                                                                false, true,
-                                                                true,
-                                                                false)),
-                                                                (String
-                                                                ((Ascii
-                                                                (false, true,
-                                                                true, true,
-                                                                false, true,
-                                                                true,
-                                                                false)),
-                                                                (String
-                                                                ((Ascii
-                                                                (true, false,
-                                                                false, false,
-                                                                false, true,
-                                                                true,
-                                                                false)),
-                                                                (String
-                                                                ((Ascii
-                                                                (false,
-                                                                false, true,
-                                                                false, true,
-                                                                true, true,
-                                                                false)),
-                                                                (String
-                                                                ((Ascii
-                                                                (true, true,
-                                                                true, true,
-                                                                false, true,
-                                                                true,
-                                                                false)),
-                                                                (String
-                                                                ((Ascii
-                                                                (false, true,
-                                                                false, false,
-                                                                true, true,
-                                                                true,
-                                                                false)),
-                                                                (String
-                                                                ((Ascii
-                                                                (true, false,
-                                                                false, true,
-                                                                false, false,
-                                                                true,
-                                                                false)),
-                                                                (String
-                                                                ((Ascii
-                                                                (false,
-                                                                false, true,
-                                                                false, false,
-                                                                true, true,
-                                                                false)),
-                                                                (String
-                                                                ((Ascii
-                                                                (true, false,
-                                                                true, false,
-                                                                false, true,
-                                                                true,
-                                                                false)),
-                                                                (String
-                                                                ((Ascii
-                                                                (false, true,
-                                                                true, true,
-                                                                false, true,
-                                                                true,
-                                                                false)),
-                                                                (String
-                                                                ((Ascii
-                                                                (false,
-                                                                false, true,
-                                                                false, true,
-                                                                true, true,
-                                                                false)),
-                                                                (String
-                                                                ((Ascii
-                                                                (true, false,
-                                                                false, true,
-                                                                false, true,
-                                                                true,
-                                                                false)),
-                                                                (String
-                                                                ((Ascii
-                                                                (false, true,
-                                                                true, false,
-                                                                false, true,
-                                                                true,
-                                                                false)),
-                                                                (String
-                                                                ((Ascii
-                                                                (true, false,
-                                                                false, true,
-                                                                false, true,
-                                                                true,
-                                                                false)),
-                                                                (String
-                                                                ((Ascii
-                                                                (true, true,
-                                                                false, false,
-                                                                false, true,
-                                                                true,
-                                                                false)),
-                                                                (String
-                                                                ((Ascii
-                                                                (true, false,
-                                                                false, false,
-                                                                false, true,
-                                                                true,
-                                                                false)),
-                                                                (String
-                                                                ((Ascii
-                                                                (false,
-                                                                false, true,
-                                                                false, true,
-                                                                true, true,
-                                                                false)),
-                                                                (String
-                                                                ((Ascii
-                                                                (true, false,
-                                                                false, true,
-                                                                false, true,
-                                                                true,
-                                                                false)),
-                                                                (String
-                                                                ((Ascii
-                                                                (true, true,
-                                                                true, true,
-                                                                false, true,
-                                                                true,
-                                                                false)),
-                                                                (String
-                                                                ((Ascii
-                                                                (false, true,
-                                                                true, true,
-                                                                false, true,
-                                                                true,
-                                                                false)),
-                                                                EmptyString))))))))))))))))))))))))))))))))))))))))))))))))
-                                                                ((String
-                                                                ((Ascii
-                                                                (false,
-                                                                false, false,
-                                                                false, true,
-                                                                true, true,
-                                                                false)),
-                                                                (String
-                                                                ((Ascii
-                                                                (true, false,
-                                                                false, false,
-                                                                false, true,
-                                                                true,
-                                                                false)),
-                                                                (String
-                                                                ((Ascii
-                                                                (false, true,
-                                                                false, false,
-                                                                true, true,
-                                                                true,
-                                                                false)),
-                                                                (String
-                                                                ((Ascii
-                                                                (true, true,
-                                                                false, false,
-                                                                true, true,
-                                                                true,
-                                                                false)),
-                                                                (String
-                                                                ((Ascii
-                                                                (true, false,
-                                                                true, false,
-                                                                false, true,
-                                                                true,
-                                                                false)),
-                                                                (String
-                                                                ((Ascii
-                                                                (true, true,
-                                                                false, false,
-                                                                true, false,
-                                                                true,
-                                                                false)),
-                                                                (String
-                                                                ((Ascii
-                                                                (false,
-                                                                false, true,
-                                                                false, true,
-                                                                true, true,
-                                                                false)),
-                                                                (String
-                                                                ((Ascii
-                                                                (false, true,
-                                                                false, false,
-                                                                true, true,
-                                                                true,
-                                                                false)),
-                                                                (String
-                                                                ((Ascii
-                                                                (true, false,
-                                                                false, true,
-                                                                false, true,
-                                                                true,
-                                                                false)),
-                                                                (String
-                                                                ((Ascii
-                                                                (false, true,
-                                                                true, true,
-                                                                false, true,
-                                                                true,
-                                                                false)),
-                                                                (String
-                                                                ((Ascii
-                                                                (true, true,
-                                                                true, false,
-                                                                false, true,
-                                                                true,
-                                                                false)),
-                                                                (String
-                                                                ((Ascii
-                                                                (false, true,
-                                                                true, false,
-                                                                false, false,
-                                                                true,
-                                                                false)),
-                                                                (String
-                                                                ((Ascii
-                                                                (true, false,
-                                                                false, true,
-                                                                false, true,
-                                                                true,
-                                                                false)),
-                                                                (String
-                                                                ((Ascii
-                                                                (true, false,
-                                                                true, false,
-                                                                false, true,
-                                                                true,
-                                                                false)),
-                                                                (String
-                                                                ((Ascii
-                                                                (false,
-                                                                false, true,
-                                                                true, false,
-                                                                true, true,
-                                                                false)),
-                                                                (String
-                                                                ((Ascii
-                                                                (false,
-                                                                false, true,
-                                                                false, false,
-                                                                true, true,
-                                                                false)),
-                                                                EmptyString)))))))))))))))))))))))))))))))) :: [])) :: (
-    (mkcut (S (S (S (S (S (S (S (S (S (S (S (S (S (S (S (S (S (S (S (S (S (S
-      (S (S (S (S (S (S (S (S (S (S (S (S (S (S (S (S (S (S (S (S (S (S (S (S
-      (S (S (S (S O)))))))))))))))))))))))))))))))))))))))))))))))))) (S (S
-      (S (S (S (S (S (S (S (S (S (S (S (S (S (S (S (S (S (S (S (S (S (S (S (S
-      (S (S (S (S (S (S (S (S (S (S (S (S (S (S (S (S (S (S (S (S (S (S (S (S
-      (S (S (S O))))))))))))))))))))))))))))))))))))))))))))))))))))) (String
-      ((Ascii (true, true, false, false, true, false, true, false)), (String
-      ((Ascii (false, false, true, false, true, true, true, false)), (String
-      ((Ascii (true, false, false, false, false, true, true, false)), (String
-      ((Ascii (false, true, true, true, false, true, true, false)), (String
-      ((Ascii (false, false, true, false, false, true, true, false)), (String
-      ((Ascii (true, false, false, false, false, true, true, false)), (String
-      ((Ascii (false, true, false, false, true, true, true, false)), (String
-      ((Ascii (false, false, true, false, false, true, true, false)), (String
-      ((Ascii (true, false, true, false, false, false, true, false)), (String
-      ((Ascii (false, true, true, true, false, true, true, false)), (String
-      ((Ascii (false, false, true, false, true, true, true, false)), (String
-      ((Ascii (false, true, false, false, true, true, true, false)), (String
-      ((Ascii (true, false, false, true, true, true, true, false)), (String
-      ((Ascii (true, true, false, false, false, false, true, false)), (String
-      ((Ascii (false, false, true, true, false, true, true, false)), (String
-      ((Ascii (true, false, false, false, false, true, true, false)), (String
-      ((Ascii (true, true, false, false, true, true, true, false)), (String
-      ((Ascii (true, true, false, false, true, true, true, false)), (String
-      ((Ascii (true, true, false, false, false, false, true, false)), (String
-      ((Ascii (true, true, true, true, false, true, true, false)), (String
-      ((Ascii (false, false, true, false, false, true, true, false)), (String
-      ((Ascii (true, false, true, false, false, true, true, false)),
-      EmptyString)))))))))))))))))))))))))))))))))))))))))))) []) :: (
-    (mkcut (S (S (S (S (S (S (S (S (S (S (S (S (S (S (S (S (S (S (S (S (S (S
-      (S (S (S (S (S (S (S (S (S (S (S (S (S (S (S (S (S (S (S (S (S (S (S (S
-      (S (S (S (S (S (S (S
-      O))))))))))))))))))))))))))))))))))))))))))))))))))))) (S (S (S (S (S
-      (S (S (S (S (S (S (S (S (S (S (S (S (S (S (S (S (S (S (S (S (S (S (S (S
-      (S (S (S (S (S (S (S (S (S (S (S (S (S (S (S (S (S (S (S (S (S (S (S (S
-      (S (S (S (S (S (S (S (S (S (S
-      O)))))))))))))))))))))))))))))))))))))))))))))))))))))))))))))))
-      (String ((Ascii (true, true, false, false, false, false, true, false)),
-      (String ((Ascii (true, true, true, true, false, true, true, false)),
-      (String ((Ascii (true, false, true, true, false, true, true, false)),
-      (String ((Ascii (false, false, false, false, true, true, true, false)),
-      (String ((Ascii (true, false, false, false, false, true, true, false)),
-      (String ((Ascii (false, true, true, true, false, true, true, false)),
-      (String ((Ascii (true, false, false, true, true, true, true, false)),
-      (String ((Ascii (true, false, true, false, false, false, true, false)),
-      (String ((Ascii (false, true, true, true, false, true, true, false)),
-      (String ((Ascii (false, false, true, false, true, true, true, false)),
-      (String ((Ascii (false, true, false, false, true, true, true, false)),
-      (String ((Ascii (true, false, false, true, true, true, true, false)),
-      (String ((Ascii (false, false, true, false, false, false, true,
-      false)), (String ((Ascii (true, false, true, false, false, true, true,
-      false)), (String ((Ascii (true, true, false, false, true, true, true,
-      false)), (String ((Ascii (true, true, false, false, false, true, true,
-      false)), (String ((Ascii (false, true, false, false, true, true, true,
-      false)), (String ((Ascii (true, false, false, true, false, true, true,
-      false)), (String ((Ascii (false, false, false, false, true, true, true,
-      false)), (String ((Ascii (false, false, true, false, true, true, true,
-      false)), (String ((Ascii (true, false, false, true, false, true, true,
-      false)), (String ((Ascii (true, true, true, true, false, true, true,
-      false)), (String ((Ascii (false, true, true, true, false, true, true,
-      false)), EmptyString))))))))))))))))))))))))))))))))))))))))))))))
-      ((String ((Ascii (true, true, false, false, true, true, true, false)),
-      (String ((Ascii (false, false, true, false, true, true, true, false)),
-      (String ((Ascii (false, true, false, false, true, true, true, false)),
-      (String ((Ascii (true, false, false, true, false, true, true, false)),
-      (String ((Ascii (false, true, true, true, false, true, true, false)),
-      (String ((Ascii (true, true, true, false, false, true, true, false)),
-      (String ((Ascii (true, true, false, false, true, true, true, false)),
-      (String ((Ascii (false, true, true, true, false, true, false, false)),
-      (String ((Ascii (false, false, true, false, true, false, true, false)),
-      (String ((Ascii (false, true, false, false, true, true, true, false)),
-      (String ((Ascii (true, false, false, true, false, true, true, false)),
-      (String ((Ascii (true, false, true, true, false, true, true, false)),
-      (String ((Ascii (true, true, false, false, true, false, true, false)),
-      (String ((Ascii (false, false, false, false, true, true, true, false)),
-      (String ((Ascii (true, false, false, false, false, true, true, false)),
-      (String ((Ascii (true, true, false, false, false, true, true, false)),
-      (String ((Ascii (true, false, true, false, false, true, true, false)),
-      EmptyString)))))))))))))))))))))))))))))))))) :: [])) :: ((mkcut (S (S
-                                                                  (S (S (S (S
-                                                                  (S (S (S (S
-                                                                  (S (S (S (S
-                                                                  (S (S (S (S
-                                                                  (S (S (S (S
-                                                                  (S (S (S (S
-                                                                  (S (S (S (S
-                                                                  (S (S (S (S
-                                                                  (S (S (S (S
-                                                                  (S (S (S (S
-                                                                  (S (S (S (S
-                                                                  (S (S (S (S
-                                                                  (S (S (S (S
-                                                                  (S (S (S (S
-                                                                  (S (S (S (S
-                                                                  (S
-                                                                  O)))))))))))))))))))))))))))))))))))))))))))))))))))))))))))))))
-                                                                  (S (S (S (S
-                                                                  (S (S (S (S
-                                                                  (S (S (S (S
-                                                                  (S (S (S (S
-                                                                  (S (S (S (S
-                                                                  (S (S (S (S
-                                                                  (S (S (S (S
-                                                                  (S (S (S (S
-                                                                  (S (S (S (S
-                                                                  (S (S (S (S
-                                                                  (S (S (S (S
-                                                                  (S (S (S (S
-                                                                  (S (S (S (S
-                                                                  (S (S (S (S
-                                                                  (S (S (S (S
-                                                                  (S (S (S (S
-                                                                  (S (S
-                                                                  O))))))))))))))))))))))))))))))))))))))))))))))))))))))))))))))))))
-                                                                  (String
-                                                                  ((Ascii
-                                                                  (true,
-                                                                  false,
-                                                                  false,
-                                                                  true,
-                                                                  false,
-                                                                  false,
-                                                                  true,
-                                                                  false)),
-                                                                  (String
-                                                                  ((Ascii
-                                                                  (true,
-                                                                  true,
-                                                                  false,
-                                                                  false,
-                                                                  true,
-                                                                  false,
-                                                                  true,
-                                                                  false)),
-                                                                  (String
-                                                                  ((Ascii
-                                                                  (true,
-                                                                  true, true,
-                                                                  true,
-                                                                  false,
-                                                                  false,
-                                                                  true,
-                                                                  false)),
-                                                                  (String
-                                                                  ((Ascii
-                                                                  (true,
-                                                                  true, true,
-                                                                  true,
-                                                                  false,
-                                                                  false,
-                                                                  true,
-                                                                  false)),
-                                                                  (String
-                                                                  ((Ascii
-                                                                  (false,
-                                                                  true,
-                                                                  false,
-                                                                  false,
-                                                                  true, true,
-                                                                  true,
-                                                                  false)),
-                                                                  (String
-                                                                  ((Ascii
-                                                                  (true,
-                                                                  false,
-                                                                  false,
-                                                                  true,
-                                                                  false,
-                                                                  true, true,
-                                                                  false)),
-                                                                  (String
-                                                                  ((Ascii
-                                                                  (true,
-                                                                  true, true,
-                                                                  false,
-                                                                  false,
-                                                                  true, true,
-                                                                  false)),
-                                                                  (String
-                                                                  ((Ascii
-                                                                  (true,
-                                                                  false,
-                                                                  false,
-                                                                  true,
-                                                                  false,
-                                                                  true, true,
-                                                                  false)),
-                                                                  (String
-                                                                  ((Ascii
-                                                                  (false,
-                                                                  true, true,
-                                                                  true,
-                                                                  false,
-                                                                  true, true,
-                                                                  false)),
-                                                                  (String
-                                                                  ((Ascii
-                                                                  (true,
-                                                                  false,
-                                                                  false,
-                                                                  false,
-                                                                  false,
-                                                                  true, true,
-                                                                  false)),
-                                                                  (String
-                                                                  ((Ascii
-                                                                  (false,
-                                                                  false,
-                                                                  true,
-                                                                  false,
-                                                                  true, true,
-                                                                  true,
-                                                                  false)),
-                                                                  (String
-                                                                  ((Ascii
-                                                                  (true,
-                                                                  false,
-                                                                  false,
-                                                                  true,
-                                                                  false,
-                                                                  true, true,
-                                                                  false)),
-                                                                  (String
-                                                                  ((Ascii
-                                                                  (false,
-                                                                  true, true,
-                                                                  true,
-                                                                  false,
-                                                                  true, true,
-                                                                  false)),
-                                                                  (String
-                                                                  ((Ascii
-                                                                  (true,
-                                                                  true, true,
-                                                                  false,
-                                                                  false,
-                                                                  true, true,
-                                                                  false)),
-                                                                  (String
-                                                                  ((Ascii
-                                                                  (true,
-                                                                  true,
-                                                                  false,
-                                                                  false,
-                                                                  false,
-                                                                  false,
-                                                                  true,
-                                                                  false)),
-                                                                  (String
-                                                                  ((Ascii
-                                                                  (true,
-                                                                  false,
-                                                                  true,
-                                                                  false,
-                                                                  true, true,
-                                                                  true,
-                                                                  false)),
-                                                                  (String
-                                                                  ((Ascii
-                                                                  (false,
-                                                                  true,
-                                                                  false,
-                                                                  false,
-                                                                  true, true,
-                                                                  true,
-                                                                  false)),
-                                                                  (String
-                                                                  ((Ascii
-                                                                  (false,
-                                                                  true,
-                                                                  false,
-                                                                  false,
-                                                                  true, true,
-                                                                  true,
-                                                                  false)),
-                                                                  (String
-                                                                  ((Ascii
-                                                                  (true,
-                                                                  false,
-                                                                  true,
-                                                                  false,
-                                                                  false,
-                                                                  true, true,
-                                                                  false)),
-                                                                  (String
-                                                                  ((Ascii
-                                                                  (false,
-                                                                  true, true,
-                                                                  true,
-                                                                  false,
-                                                                  true, true,
-                                                                  false)),
-                                                                  (String
-                                                                  ((Ascii
-                                                                  (true,
-                                                                  true,
-                                                                  false,
-                                                                  false,
-                                                                  false,
-                                                                  true, true,
-                                                                  false)),
-                                                                  (String
-                                                                  ((Ascii
-                                                                  (true,
-                                                                  false,
-                                                                  false,
-                                                                  true, true,
-                                                                  true, true,
-                                                                  false)),
-                                                                  (String
-                                                                  ((Ascii
-                                                                  (true,
-                                                                  true,
-                                                                  false,
-                                                                  false,
-                                                                  false,
-                                                                  false,
-                                                                  true,
-                                                                  false)),
-                                                                  (String
-                                                                  ((Ascii
-                                                                  (true,
-                                                                  true, true,
-                                                                  true,
-                                                                  false,
-                                                                  true, true,
-                                                                  false)),
-                                                                  (String
-                                                                  ((Ascii
-                                                                  (false,
-                                                                  false,
-                                                                  true,
-                                                                  false,
-                                                                  false,
-                                                                  true, true,
-                                                                  false)),
-                                                                  (String
-                                                                  ((Ascii
-                                                                  (true,
-                                                                  false,
-                                                                  true,
-                                                                  false,
-                                                                  false,
-                                                                  true, true,
-                                                                  false)),
-                                                                  EmptyString))))))))))))))))))))))))))))))))))))))))))))))))))))
-                                                                  ((String
-                                                                  ((Ascii
-                                                                  (false,
-                                                                  false,
-                                                                  false,
-                                                                  false,
-                                                                  true, true,
-                                                                  true,
-                                                                  false)),
-                                                                  (String
-                                                                  ((Ascii
-                                                                  (true,
-                                                                  false,
-                                                                  false,
-                                                                  false,
-                                                                  false,
-                                                                  true, true,
-                                                                  false)),
-                                                                  (String
-                                                                  ((Ascii
-                                                                  (false,
-                                                                  true,
-                                                                  false,
-                                                                  false,
-                                                                  true, true,
-                                                                  true,
-                                                                  false)),
-                                                                  (String
-                                                                  ((Ascii
-                                                                  (true,
-                                                                  true,
-                                                                  false,
-                                                                  false,
-                                                                  true, true,
-                                                                  true,
-                                                                  false)),
-                                                                  (String
-                                                                  ((Ascii
-                                                                  (true,
-                                                                  false,
-                                                                  true,
-                                                                  false,
-                                                                  false,
-                                                                  true, true,
-                                                                  false)),
-                                                                  (String
-                                                                  ((Ascii
-                                                                  (true,
-                                                                  true,
-                                                                  false,
-                                                                  false,
-                                                                  true,
-                                                                  false,
-                                                                  true,
-                                                                  false)),
-                                                                  (String
-                                                                  ((Ascii
-                                                                  (false,
-                                                                  false,
-                                                                  true,
-                                                                  false,
-                                                                  true, true,
-                                                                  true,
-                                                                  false)),
-                                                                  (String
-                                                                  ((Ascii
-                                                                  (false,
-                                                                  true,
-                                                                  false,
-                                                                  false,
-                                                                  true, true,
-                                                                  true,
-                                                                  false)),
-                                                                  (String
-                                                                  ((Ascii
-                                                                  (true,
-                                                                  false,
-                                                                  false,
-                                                                  true,
-                                                                  false,
-                                                                  true, true,
-                                                                  false)),
-                                                                  (String
-                                                                  ((Ascii
-                                                                  (false,
-                                                                  true, true,
-                                                                  true,
-                                                                  false,
-                                                                  true, true,
-                                                                  false)),
-                                                                  (String
-                                                                  ((Ascii
-                                                                  (true,
-                                                                  true, true,
-                                                                  false,
-                                                                  false,
-                                                                  true, true,
-                                                                  false)),
-                                                                  (String
-                                                                  ((Ascii
-                                                                  (false,
-                                                                  true, true,
-                                                                  false,
-                                                                  false,
-                                                                  false,
-                                                                  true,
-                                                                  false)),
-                                                                  (String
-                                                                  ((Ascii
-                                                                  (true,
-                                                                  false,
-                                                                  false,
-                                                                  true,
-                                                                  false,
-                                                                  true, true,
-                                                                  false)),
-                                                                  (String
-                                                                  ((Ascii
-                                                                  (true,
-                                                                  false,
-                                                                  true,
-                                                                  false,
-                                                                  false,
-                                                                  true, true,
-                                                                  false)),
-                                                                  (String
-                                                                  ((Ascii
-                                                                  (false,
-                                                                  false,
-                                                                  true, true,
-                                                                  false,
-                                                                  true, true,
-                                                                  false)),
-                                                                  (String
-                                                                  ((Ascii
-                                                                  (false,
-                                                                  false,
-                                                                  true,
-                                                                  false,
-                                                                  false,
-                                                                  true, true,
-                                                                  false)),
-                                                                  EmptyString)))))))))))))))))))))))))))))))) :: [])) :: (
-    (mkcut (S (S (S (S (S (S (S (S (S (S (S (S (S (S (S (S (S (S (S (S (S (S
-      (S (S (S (S (S (S (S (S (S (S (S (S (S (S (S (S (S (S (S (S (S (S (S (S
-      (S (S (S (S (S (S (S (S (S (S (S (S (S (S (S (S (S (S (S (S
-      O)))))))))))))))))))))))))))))))))))))))))))))))))))))))))))))))))) (S
-      (S (S (S (S (S (S (S (S (S (S (S (S (S (S (S (S (S (S (S (S (S (S (S (S
-      (S (S (S (S (S (S (S (S (S (S (S (S (S (S (S (S (S (S (S (S (S (S (S (S
-      (S (S (S (S (S (S (S (S (S (S (S (S (S (S (S (S (S (S (S (S
-      O)))))))))))))))))))))))))))))))))))))))))))))))))))))))))))))))))))))
-      (String ((Ascii (true, false, false, true, false, false, true, false)),
-      (String ((Ascii (true, true, false, false, true, false, true, false)),
-      (String ((Ascii (true, true, true, true, false, false, true, false)),
-      (String ((Ascii (false, false, true, false, false, false, true,
-      false)), (String ((Ascii (true, false, true, false, false, true, true,
-      false)), (String ((Ascii (true, true, false, false, true, true, true,
-      false)), (String ((Ascii (false, false, true, false, true, true, true,
-      false)), (String ((Ascii (true, false, false, true, false, true, true,
-      false)), (String ((Ascii (false, true, true, true, false, true, true,
-      false)), (String ((Ascii (true, false, false, false, false, true, true,
-      false)), (String ((Ascii (false, false, true, false, true, true, true,
-      false)), (String ((Ascii (true, false, false, true, false, true, true,
-      false)), (String ((Ascii (true, true, true, true, false, true, true,
-      false)), (String ((Ascii (false, true, true, true, false, true, true,
-      false)), (String ((Ascii (true, true, false, false, false, false, true,
-      false)), (String ((Ascii (true, false, true, false, true, true, true,
-      false)), (String ((Ascii (false, true, false, false, true, true, true,
-      false)), (String ((Ascii (false, true, false, false, true, true, true,
-      false)), (String ((Ascii (true, false, true, false, false, true, true,
-      false)), (String ((Ascii (false, true, true, true, false, true, true,
-      false)), (String ((Ascii (true, true, false, false, false, true, true,
-      false)), (String ((Ascii (true, false, false, true, true, true, true,
-      false)), (String ((Ascii (true, true, false, false, false, false, true,
-      false)), (String ((Ascii (true, true, true, true, false, true, true,
-      false)), (String ((Ascii (false, false, true, false, false, true, true,
-      false)), (String ((Ascii (true, false, true, false, false, true, true,
-      false)),
-      EmptyString))))))))))))))))))))))))))))))))))))))))))))))))))))
-      ((String ((Ascii (false, false, false, false, true, true, true,
-      false)), (String ((Ascii (true, false, false, false, false, true, true,
-      false)), (String ((Ascii (false, true, false, false, true, true, true,
-      false)), (String ((Ascii (true, true, false, false, true, true, true,
-      false)), (String ((Ascii (true, false, true, false, false, true, true,
-      false)), (String ((Ascii (true, true, false, false, true, false, true,
-      false)), (String ((Ascii (false, false, true, false, true, true, true,
-      false)), (String ((Ascii (false, true, false, false, true, true, true,
-      false)), (String ((Ascii (true, false, false, true, false, true, true,
-      false)), (String ((Ascii (false, true, true, true, false, true, true,
-      false)), (String ((Ascii (true, true, true, false, false, true, true,
-      false)), (String ((Ascii (false, true, true, false, false, false, true,
-      false)), (String ((Ascii (true, false, false, true, false, true, true,
-      false)), (String ((Ascii (true, false, true, false, false, true, true,
-      false)), (String ((Ascii (false, false, true, true, false, true, true,
-      false)), (String ((Ascii (false, false, true, false, false, true, true,
-      false)), EmptyString)))))))))))))))))))))))))))))))) :: [])) :: (
-    (mkcut (S (S (S (S (S (S (S (S (S (S (S (S (S (S (S (S (S (S (S (S (S (S
-      (S (S (S (S (S (S (S (S (S (S (S (S (S (S (S (S (S (S (S (S (S (S (S (S
-      (S (S (S (S (S (S (S (S (S (S (S (S (S (S (S (S (S (S (S (S (S (S (S
-      O)))))))))))))))))))))))))))))))))))))))))))))))))))))))))))))))))))))
-      (S (S (S (S (S (S (S (S (S (S (S (S (S (S (S (S (S (S (S (S (S (S (S (S
-      (S (S (S (S (S (S (S (S (S (S (S (S (S (S (S (S (S (S (S (S (S (S (S (S
-      (S (S (S (S (S (S (S (S (S (S (S (S (S (S (S (S (S (S (S (S (S (S (S (S
-      (S (S (S
-      O)))))))))))))))))))))))))))))))))))))))))))))))))))))))))))))))))))))))))))
-      (String ((Ascii (true, false, true, false, false, false, true, false)),
-      (String ((Ascii (false, true, true, false, false, true, true, false)),
-      (String ((Ascii (false, true, true, false, false, true, true, false)),
-      (String ((Ascii (true, false, true, false, false, true, true, false)),
-      (String ((Ascii (true, true, false, false, false, true, true, false)),
-      (String ((Ascii (false, false, true, false, true, true, true, false)),
-      (String ((Ascii (true, false, false, true, false, true, true, false)),
-      (String ((Ascii (false, true, true, false, true, true, true, false)),
-      (String ((Ascii (true, false, true, false, false, true, true, false)),
-      (String ((Ascii (true, false, true, false, false, false, true, false)),
-      (String ((Ascii (false, true, true, true, false, true, true, false)),
-      (String ((Ascii (false, false, true, false, true, true, true, false)),
-      (String ((Ascii (false, true, false, false, true, true, true, false)),
-      (String ((Ascii (true, false, false, true, true, true, true, false)),
-      (String ((Ascii (false, false, true, false, false, false, true,
-      false)), (String ((Ascii (true, false, false, false, false, true, true,
-      false)), (String ((Ascii (false, false, true, false, true, true, true,
-      false)), (String ((Ascii (true, false, true, false, false, true, true,
-      false)), EmptyString)))))))))))))))))))))))))))))))))))) ((String
-      ((Ascii (false, true, true, false, true, true, true, false)), (String
-      ((Ascii (true, false, false, false, false, true, true, false)), (String
-      ((Ascii (false, false, true, true, false, true, true, false)), (String
-      ((Ascii (true, false, false, true, false, true, true, false)), (String
-      ((Ascii (false, false, true, false, false, true, true, false)), (String
-      ((Ascii (true, false, false, false, false, true, true, false)), (String
-      ((Ascii (false, false, true, false, true, true, true, false)), (String
-      ((Ascii (true, false, true, false, false, true, true, false)), (String
-      ((Ascii (true, true, false, false, true, false, true, false)), (String
-      ((Ascii (true, false, false, true, false, true, true, false)), (String
-      ((Ascii (true, false, true, true, false, true, true, false)), (String
-      ((Ascii (false, false, false, false, true, true, true, false)), (String
-      ((Ascii (false, false, true, true, false, true, true, false)), (String
-      ((Ascii (true, false, true, false, false, true, true, false)), (String
-      ((Ascii (false, false, true, false, false, false, true, false)),
-      (String ((Ascii (true, false, false, false, false, true, true, false)),
-      (String ((Ascii (false, false, true, false, true, true, true, false)),
-      (String ((Ascii (true, false, true, false, false, true, true, false)),
-      EmptyString)))))))))))))))))))))))))))))))))))) :: [])) :: ((mkcut (S
-                                                                    (S (S (S
-                                                                    (S (S (S
-                                                                    (S (S (S
-                                                                    (S (S (S
-                                                                    (S (S (S
-                                                                    (S (S (S
-                                                                    (S (S (S
-                                                                    (S (S (S
-                                                                    (S (S (S
-                                                                    (S (S (S
-                                                                    (S (S (S
-                                                                    (S (S (S
-                                                                    (S (S (S
-                                                                    (S (S (S
-                                                                    (S (S (S
-                                                                    (S (S (S
-                                                                    (S (S (S
-                                                                    (S (S (S
-                                                                    (S (S (S
-                                                                    (S (S (S
-                                                                    (S (S (S
-                                                                    (S (S (S
-                                                                    (S (S (S
-                                                                    (S (S (S
-                                                                    (S (S
-                                                                    O)))))))))))))))))))))))))))))))))))))))))))))))))))))))))))))))))))))))))))
-                                                                    (S (S (S
-                                                                    (S (S (S
-                                                                    (S (S (S
-                                                                    (S (S (S
-                                                                    (S (S (S
-                                                                    (S (S (S
-                                                                    (S (S (S
-                                                                    (S (S (S
-                                                                    (S (S (S
-                                                                    (S (S (S
-                                                                    (S (S (S
-                                                                    (S (S (S
-                                                                    (S (S (S
-                                                                    (S (S (S
-                                                                    (S (S (S
-                                                                    (S (S (S
-                                                                    (S (S (S
-                                                                    (S (S (S
-                                                                    (S (S (S
-                                                                    (S (S (S
-                                                                    (S (S (S
-                                                                    (S (S (S
-                                                                    (S (S (S
-                                                                    (S (S (S
-                                                                    (S (S (S
-                                                                    (S (S (S
-                                                                    O))))))))))))))))))))))))))))))))))))))))))))))))))))))))))))))))))))))))))))))
-                                                                    (String
-                                                                    ((Ascii
-                                                                    (true,
-                                                                    true,
-                                                                    false,
-                                                                    false,
-                                                                    true,
-                                                                    false,
-                                                                    true,
-                                                                    false)),
-                                                                    (String
-                                                                    ((Ascii
-                                                                    (true,
-                                                                    false,
-                                                                    true,
-                                                                    false,
-                                                                    false,
-                                                                    true,
-                                                                    true,
-                                                                    false)),
-                                                                    (String
-                                                                    ((Ascii
-                                                                    (false,
-                                                                    false,
-                                                                    true,
-                                                                    false,
-                                                                    true,
-                                                                    true,
-                                                                    true,
-                                                                    false)),
-                                                                    (String
-                                                                    ((Ascii
-                                                                    (false,
-                                                                    false,
-                                                                    true,
-                                                                    false,
-                                                                    true,
-                                                                    true,
-                                                                    true,
-                                                                    false)),
-                                                                    (String
-                                                                    ((Ascii
-                                                                    (false,
-                                                                    false,
-                                                                    true,
-                                                                    true,
-                                                                    false,
-                                                                    true,
-                                                                    true,
-                                                                    false)),
-                                                                    (String
-                                                                    ((Ascii
-                                                                    (true,
-                                                                    false,
-                                                                    true,
-                                                                    false,
-                                                                    false,
-                                                                    true,
-                                                                    true,
-                                                                    false)),
-                                                                    (String
-                                                                    ((Ascii
-                                                                    (true,
-                                                                    false,
-                                                                    true,
-                                                                    true,
-                                                                    false,
-                                                                    true,
-                                                                    true,
-                                                                    false)),
-                                                                    (String
-                                                                    ((Ascii
-                                                                    (true,
-                                                                    false,
-                                                                    true,
-                                                                    false,
-                                                                    false,
-                                                                    true,
-                                                                    true,
-                                                                    false)),
-                                                                    (String
-                                                                    ((Ascii
-                                                                    (false,
-                                                                    true,
-                                                                    true,
-                                                                    true,
-                                                                    false,
-                                                                    true,
-                                                                    true,
-                                                                    false)),
-                                                                    (String
-                                                                    ((Ascii
-                                                                    (false,
-                                                                    false,
-                                                                    true,
-                                                                    false,
-                                                                    true,
-                                                                    true,
-                                                                    true,
-                                                                    false)),
-                                                                    (String
-                                                                    ((Ascii
-                                                                    (false,
-                                                                    false,
-                                                                    true,
-                                                                    false,
-                                                                    false,
-                                                                    false,
-                                                                    true,
-                                                                    false)),
-                                                                    (String
-                                                                    ((Ascii
-                                                                    (true,
-                                                                    false,
-                                                                    false,
-                                                                    false,
-                                                                    false,
-                                                                    true,
-                                                                    true,
-                                                                    false)),
-                                                                    (String
-                                                                    ((Ascii
-                                                                    (false,
-                                                                    false,
-                                                                    true,
-                                                                    false,
-                                                                    true,
-                                                                    true,
-                                                                    true,
-                                                                    false)),
-                                                                    (String
-                                                                    ((Ascii
-                                                                    (true,
-                                                                    false,
-                                                                    true,
-                                                                    false,
-                                                                    false,
-                                                                    true,
-                                                                    true,
-                                                                    false)),
-                                                                    EmptyString))))))))))))))))))))))))))))
-                                                                    ((String
-                                                                    ((Ascii
-                                                                    (false,
-                                                                    true,
-                                                                    true,
-                                                                    false,
-                                                                    true,
-                                                                    true,
-                                                                    true,
-                                                                    false)),
-                                                                    (String
-                                                                    ((Ascii
-                                                                    (true,
-                                                                    false,
-                                                                    false,
-                                                                    false,
-                                                                    false,
-                                                                    true,
-                                                                    true,
-                                                                    false)),
-                                                                    (String
-                                                                    ((Ascii
-                                                                    (false,
-                                                                    false,
-                                                                    true,
-                                                                    true,
-                                                                    false,
-                                                                    true,
-                                                                    true,
-                                                                    false)),
-                                                                    (String
-                                                                    ((Ascii
-                                                                    (true,
-                                                                    false,
-                                                                    false,
-                                                                    true,
-                                                                    false,
-                                                                    true,
-                                                                    true,
-                                                                    false)),
-                                                                    (String
-                                                                    ((Ascii
-                                                                    (false,
-                                                                    false,
-                                                                    true,
-                                                                    false,
-                                                                    false,
-                                                                    true,
-                                                                    true,
-                                                                    false)),
-                                                                    (String
-                                                                    ((Ascii
-                                                                    (true,
-                                                                    false,
-                                                                    false,
-                                                                    false,
-                                                                    false,
-                                                                    true,
-                                                                    true,
-                                                                    false)),
-                                                                    (String
-                                                                    ((Ascii
-                                                                    (false,
-                                                                    false,
-                                                                    true,
-                                                                    false,
-                                                                    true,
-                                                                    true,
-                                                                    true,
-                                                                    false)),
-                                                                    (String
-                                                                    ((Ascii
-                                                                    (true,
-                                                                    false,
-                                                                    true,
-                                                                    false,
-                                                                    false,
-                                                                    true,
-                                                                    true,
-                                                                    false)),
-                                                                    (String
-                                                                    ((Ascii
-                                                                    (true,
-                                                                    true,
-                                                                    false,
-                                                                    false,
-                                                                    true,
-                                                                    false,
-                                                                    true,
-                                                                    false)),
-                                                                    (String
-                                                                    ((Ascii
-                                                                    (true,
-                                                                    false,
-                                                                    true,
-                                                                    false,
-                                                                    false,
-                                                                    true,
-                                                                    true,
-                                                                    false)),
-                                                                    (String
-                                                                    ((Ascii
-                                                                    (false,
-                                                                    false,
-                                                                    true,
-                                                                    false,
-                                                                    true,
-                                                                    true,
-                                                                    true,
-                                                                    false)),
-                                                                    (String
-                                                                    ((Ascii
-                                                                    (false,
-                                                                    false,
-                                                                    true,
-                                                                    false,
-                                                                    true,
-                                                                    true,
-                                                                    true,
-                                                                    false)),
-                                                                    (String
-                                                                    ((Ascii
-                                                                    (false,
-                                                                    false,
-                                                                    true,
-                                                                    true,
-                                                                    false,
-                                                                    true,
-                                                                    true,
-                                                                    false)),
-                                                                    (String
-                                                                    ((Ascii
-                                                                    (true,
-                                                                    false,
-                                                                    true,
-                                                                    false,
-                                                                    false,
-                                                                    true,
-                                                                    true,
-                                                                    false)),
-                                                                    (String
-                                                                    ((Ascii
-                                                                    (true,
-                                                                    false,
-                                                                    true,
-                                                                    true,
-                                                                    false,
-                                                                    true,
-                                                                    true,
-                                                                    false)),
-                                                                    (String
-                                                                    ((Ascii
-                                                                    (true,
-                                                                    false,
-                                                                    true,
-                                                                    false,
-                                                                    false,
-                                                                    true,
-                                                                    true,
-                                                                    false)),
-                                                                    (String
-                                                                    ((Ascii
-                                                                    (false,
-                                                                    true,
-                                                                    true,
-                                                                    true,
-                                                                    false,
-                                                                    true,
-                                                                    true,
-                                                                    false)),
-                                                                    (String
-                                                                    ((Ascii
-                                                                    (false,
-                                                                    false,
-                                                                    true,
-                                                                    false,
-                                                                    true,
-                                                                    true,
-                                                                    true,
-                                                                    false)),
-                                                                    (String
-                                                                    ((Ascii
-                                                                    (false,
-                                                                    false,
-                                                                    true,
-                                                                    false,
-                                                                    false,
-                                                                    false,
-                                                                    true,
-                                                                    false)),
-                                                                    (String
-                                                                    ((Ascii
-                                                                    (true,
-                                                                    false,
-                                                                    false,
-                                                                    false,
-                                                                    false,
-                                                                    true,
-                                                                    true,
-                                                                    false)),
-                                                                    (String
-                                                                    ((Ascii
-                                                                    (false,
-                                                                    false,
-                                                                    true,
-                                                                    false,
-                                                                    true,
-                                                                    true,
-                                                                    true,
-                                                                    false)),
-                                                                    (String
-                                                                    ((Ascii
-                                                                    (true,
-                                                                    false,
-                                                                    true,
-                                                                    false,
-                                                                    false,
-                                                                    true,
-                                                                    true,
-                                                                    false)),
-                                                                    EmptyString)))))))))))))))))))))))))))))))))))))))))))) :: [])) :: (
-    (mkcut (S (S (S (S (S (S (S (S (S (S (S (S (S (S (S (S (S (S (S (S (S (S
-      (S (S (S (S (S (S (S (S (S (S (S (S (S (S (S (S (S (S (S (S (S (S (S (S
-      (S (S (S (S (S (S (S (S (S (S (S (S (S (S (S (S (S (S (S (S (S (S (S (S
-      (S (S (S (S (S (S (S (S
-      O))))))))))))))))))))))))))))))))))))))))))))))))))))))))))))))))))))))))))))))
-      (S (S (S (S (S (S (S (S (S (S (S (S (S (S (S (S (S (S (S (S (S (S (S (S
-      (S (S (S (S (S (S (S (S (S (S (S (S (S (S (S (S (S (S (S (S (S (S (S (S
-      (S (S (S (S (S (S (S (S (S (S (S (S (S (S (S (S (S (S (S (S (S (S (S (S
-      (S (S (S (S (S (S (S
-      O)))))))))))))))))))))))))))))))))))))))))))))))))))))))))))))))))))))))))))))))
-      (String ((Ascii (true, true, true, true, false, false, true, false)),
-      (String ((Ascii (false, true, false, false, true, true, true, false)),
-      (String ((Ascii (true, false, false, true, false, true, true, false)),
-      (String ((Ascii (true, true, true, false, false, true, true, false)),
-      (String ((Ascii (true, false, false, true, false, true, true, false)),
-      (String ((Ascii (false, true, true, true, false, true, true, false)),
-      (String ((Ascii (true, false, false, false, false, true, true, false)),
-      (String ((Ascii (false, false, true, false, true, true, true, false)),
-      (String ((Ascii (true, true, true, true, false, true, true, false)),
-      (String ((Ascii (false, true, false, false, true, true, true, false)),
-      (String ((Ascii (true, true, false, false, true, false, true, false)),
-      (String ((Ascii (false, false, true, false, true, true, true, false)),
-      (String ((Ascii (true, false, false, false, false, true, true, false)),
-      (String ((Ascii (false, false, true, false, true, true, true, false)),
-      (String ((Ascii (true, false, true, false, true, true, true, false)),
-      (String ((Ascii (true, true, false, false, true, true, true, false)),
-      (String ((Ascii (true, true, false, false, false, false, true, false)),
-      (String ((Ascii (true, true, true, true, false, true, true, false)),
-      (String ((Ascii (false, false, true, false, false, true, true, false)),
-      (String ((Ascii (true, false, true, false, false, true, true, false)),
-      EmptyString)))))))))))))))))))))))))))))))))))))))) ((String ((Ascii
-      (false, false, false, false, true, true, true, false)), (String ((Ascii
-      (true, false, false, false, false, true, true, false)), (String ((Ascii
-      (false, true, false, false, true, true, true, false)), (String ((Ascii
-      (true, true, false, false, true, true, true, false)), (String ((Ascii
-      (true, false, true, false, false, true, true, false)), (String ((Ascii
-      (false, true, true, true, false, false, true, false)), (String ((Ascii
-      (true, false, true, false, true, true, true, false)), (String ((Ascii
-      (true, false, true, true, false, true, true, false)), (String ((Ascii
-      (false, true, true, false, false, false, true, false)), (String ((Ascii
-      (true, false, false, true, false, true, true, false)), (String ((Ascii
-      (true, false, true, false, false, true, true, false)), (String ((Ascii
-      (false, false, true, true, false, true, true, false)), (String ((Ascii
-      (false, false, true, false, false, true, true, false)),
-      EmptyString)))))))))))))))))))))))))) :: [])) :: ((mkcut (S (S (S (S (S
-                                                          (S (S (S (S (S (S
-                                                          (S (S (S (S (S (S
-                                                          (S (S (S (S (S (S
-                                                          (S (S (S (S (S (S
-                                                          (S (S (S (S (S (S
-                                                          (S (S (S (S (S (S
-                                                          (S (S (S (S (S (S
-                                                          (S (S (S (S (S (S
-                                                          (S (S (S (S (S (S
-                                                          (S (S (S (S (S (S
-                                                          (S (S (S (S (S (S
-                                                          (S (S (S (S (S (S
-                                                          (S (S
-                                                          O)))))))))))))))))))))))))))))))))))))))))))))))))))))))))))))))))))))))))))))))
-                                                          (S (S (S (S (S (S
-                                                          (S (S (S (S (S (S
-                                                          (S (S (S (S (S (S
-                                                          (S (S (S (S (S (S
-                                                          (S (S (S (S (S (S
-                                                          (S (S (S (S (S (S
-                                                          (S (S (S (S (S (S
-                                                          (S (S (S (S (S (S
-                                                          (S (S (S (S (S (S
-                                                          (S (S (S (S (S (S
-                                                          (S (S (S (S (S (S
-                                                          (S (S (S (S (S (S
-                                                          (S (S (S (S (S (S
-                                                          (S (S (S (S (S (S
-                                                          (S (S (S
-                                                          O)))))))))))))))))))))))))))))))))))))))))))))))))))))))))))))))))))))))))))))))))))))))
-                                                          (String ((Ascii
-                                                          (true, true, true,
-                                                          true, false, false,
-                                                          true, false)),
-                                                          (String ((Ascii
-                                                          (false, false,
-                                                          true, false, false,
-                                                          false, true,
-                                                          false)), (String
-                                                          ((Ascii (false,
-                                                          true, true, false,
-                                                          false, false, true,
-                                                          false)), (String
-                                                          ((Ascii (true,
-                                                          false, false, true,
-                                                          false, false, true,
-                                                          false)), (String
-                                                          ((Ascii (true,
-                                                          false, false, true,
-                                                          false, false, true,
-                                                          false)), (String
-                                                          ((Ascii (false,
-                                                          false, true, false,
-                                                          false, true, true,
-                                                          false)), (String
-                                                          ((Ascii (true,
-                                                          false, true, false,
-                                                          false, true, true,
-                                                          false)), (String
-                                                          ((Ascii (false,
-                                                          true, true, true,
-                                                          false, true, true,
-                                                          false)), (String
-                                                          ((Ascii (false,
-                                                          false, true, false,
-                                                          true, true, true,
-                                                          false)), (String
-                                                          ((Ascii (true,
-                                                          false, false, true,
-                                                          false, true, true,
-                                                          false)), (String
-                                                          ((Ascii (false,
-                                                          true, true, false,
-                                                          false, true, true,
-                                                          false)), (String
-                                                          ((Ascii (true,
-                                                          false, false, true,
-                                                          false, true, true,
-                                                          false)), (String
-                                                          ((Ascii (true,
-                                                          true, false, false,
-                                                          false, true, true,
-                                                          false)), (String
-                                                          ((Ascii (true,
-                                                          false, false,
-                                                          false, false, true,
-                                                          true, false)),
-                                                          (String ((Ascii
-                                                          (false, false,
-                                                          true, false, true,
-                                                          true, true,
-                                                          false)), (String
-                                                          ((Ascii (true,
-                                                          false, false, true,
-                                                          false, true, true,
-                                                          false)), (String
-                                                          ((Ascii (true,
-                                                          true, true, true,
-                                                          false, true, true,
-                                                          false)), (String
-                                                          ((Ascii (false,
-                                                          true, true, true,
-                                                          false, true, true,
-                                                          false)),
-                                                          EmptyString))))))))))))))))))))))))))))))))))))
-                                                          ((String ((Ascii
-                                                          (false, false,
-                                                          false, false, true,
-                                                          true, true,
-                                                          false)), (String
-                                                          ((Ascii (true,
-                                                          false, false,
-                                                          false, false, true,
-                                                          true, false)),
-                                                          (String ((Ascii
-                                                          (false, true,
-                                                          false, false, true,
-                                                          true, true,
-                                                          false)), (String
-                                                          ((Ascii (true,
-                                                          true, false, false,
-                                                          true, true, true,
-                                                          false)), (String
-                                                          ((Ascii (true,
-                                                          false, true, false,
-                                                          false, true, true,
-                                                          false)), (String
-                                                          ((Ascii (true,
-                                                          true, false, false,
-                                                          true, false, true,
-                                                          false)), (String
-                                                          ((Ascii (false,
-                                                          false, true, false,
-                                                          true, true, true,
-                                                          false)), (String
-                                                          ((Ascii (false,
-                                                          true, false, false,
-                                                          true, true, true,
-                                                          false)), (String
-                                                          ((Ascii (true,
-                                                          false, false, true,
-                                                          false, true, true,
-                                                          false)), (String
-                                                          ((Ascii (false,
-                                                          true, true, true,
-                                                          false, true, true,
-                                                          false)), (String
-                                                          ((Ascii (true,
-                                                          true, true, false,
-                                                          false, true, true,
-                                                          false)), (String
-                                                          ((Ascii (false,
-                                                          true, true, false,
-                                                          false, false, true,
-                                                          false)), (String
-                                                          ((Ascii (true,
-                                                          false, false, true,
-                                                          false, true, true,
-                                                          false)), (String
-                                                          ((Ascii (true,
-                                                          false, true, false,
-                                                          false, true, true,
-                                                          false)), (String
-                                                          ((Ascii (false,
-                                                          false, true, true,
-                                                          false, true, true,
-                                                          false)), (String
-                                                          ((Ascii (false,
-                                                          false, true, false,
-                                                          false, true, true,
-                                                          false)),
-                                                          EmptyString)))))))))))))))))))))))))))))))) :: [])) :: (
-    (mkcut (S (S (S (S (S (S (S (S (S (S (S (S (S (S (S (S (S (S (S (S (S (S
-      (S (S (S (S (S (S (S (S (S (S (S (S (S (S (S (S (S (S (S (S (S (S (S (S
-      (S (S (S (S (S (S (S (S (S (S (S (S (S (S (S (S (S (S (S (S (S (S (S (S
-      (S (S (S (S (S (S (S (S (S (S (S (S (S (S (S (S (S
-      O)))))))))))))))))))))))))))))))))))))))))))))))))))))))))))))))))))))))))))))))))))))))
-      (S (S (S (S (S (S (S (S (S (S (S (S (S (S (S (S (S (S (S (S (S (S (S (S
-      (S (S (S (S (S (S (S (S (S (S (S (S (S (S (S (S (S (S (S (S (S (S (S (S
-      (S (S (S (S (S (S (S (S (S (S (S (S (S (S (S (S (S (S (S (S (S (S (S (S
-      (S (S (S (S (S (S (S (S (S (S (S (S (S (S (S (S (S (S (S (S (S (S
-      O))))))))))))))))))))))))))))))))))))))))))))))))))))))))))))))))))))))))))))))))))))))))))))))
-      (String ((Ascii (false, true, false, false, false, false, true,
-      false)), (String ((Ascii (true, false, false, false, false, true, true,
-      false)), (String ((Ascii (false, false, true, false, true, true, true,
-      false)), (String ((Ascii (true, true, false, false, false, true, true,
-      false)), (String ((Ascii (false, false, false, true, false, true, true,
-      false)), (String ((Ascii (false, true, true, true, false, false, true,
-      false)), (String ((Ascii (true, false, true, false, true, true, true,
-      false)), (String ((Ascii (true, false, true, true, false, true, true,
-      false)), (String ((Ascii (false, true, false, false, false, true, true,
-      false)), (String ((Ascii (true, false, true, false, false, true, true,
-      false)), (String ((Ascii (false, true, false, false, true, true, true,
-      false)), EmptyString)))))))))))))))))))))) ((String ((Ascii (false,
-      false, false, false, true, true, true, false)), (String ((Ascii (true,
-      false, false, false, false, true, true, false)), (String ((Ascii
-      (false, true, false, false, true, true, true, false)), (String ((Ascii
-      (true, true, false, false, true, true, true, false)), (String ((Ascii
-      (true, false, true, false, false, true, true, false)), (String ((Ascii
-      (false, true, true, true, false, false, true, false)), (String ((Ascii
-      (true, false, true, false, true, true, true, false)), (String ((Ascii
-      (true, false, true, true, false, true, true, false)), (String ((Ascii
-      (false, true, true, false, false, false, true, false)), (String ((Ascii
-      (true, false, false, true, false, true, true, false)), (String ((Ascii
-      (true, false, true, false, false, true, true, false)), (String ((Ascii
-      (false, false, true, true, false, true, true, false)), (String ((Ascii
-      (false, false, true, false, false, true, true, false)),
-      EmptyString)))))))))))))))))))))))))) :: [])) :: []))))))))))))))))) }
-
-(** val l_IATEntryDetail : layout **)
-
-let l_IATEntryDetail =
-  { l_name = (String ((Ascii (true, false, false, true, false, false, true,
-    false)), (String ((Ascii (true, false, false, false, false, false, true,
-    false)), (String ((Ascii (false, false, true, false, true, false, true,
-    false)), (String ((Ascii (true, false, true, false, false, false, true,
-    false)), (String ((Ascii (false, true, true, true, false, true, true,
-    false)), (String ((Ascii (false, false, true, false, true, true, true,
-    false)), (String ((Ascii (false, true, false, false, true, true, true,
-    false)), (String ((Ascii (true, false, false, true, true, true, true,
-    false)), (String ((Ascii (false, false, true, false, false, false, true,
-    false)), (String ((Ascii (true, false, true, false, false, true, true,
-    false)), (String ((Ascii (false, false, true, false, true, true, true,
-    false)), (String ((Ascii (true, false, false, false, false, true, true,
-    false)), (String ((Ascii (true, false, false, true, false, true, true,
-    false)), (String ((Ascii (false, false, true, true, false, true, true,
-    false)), EmptyString)))))))))))))))))))))))))))); l_ix = IRune; l_segs =
-    ((SLit ((Npos (XO (XI (XI (XO (XI XH)))))) :: [])) :: ((SItoa (String
-    ((Ascii (false, false, true, false, true, false, true, false)), (String
-    ((Ascii (false, true, false, false, true, true, true, false)), (String
-    ((Ascii (true, false, false, false, false, true, true, false)), (String
-    ((Ascii (false, true, true, true, false, true, true, false)), (String
-    ((Ascii (true, true, false, false, true, true, true, false)), (String
-    ((Ascii (true, false, false, false, false, true, true, false)), (String
-    ((Ascii (true, true, false, false, false, true, true, false)), (String
-    ((Ascii (false, false, true, false, true, true, true, false)), (String
-    ((Ascii (true, false, false, true, false, true, true, false)), (String
-    ((Ascii (true, true, true, true, false, true, true, false)), (String
-    ((Ascii (false, true, true, true, false, true, true, false)), (String
-    ((Ascii (true, true, false, false, false, false, true, false)), (String
-    ((Ascii (true, true, true, true, false, true, true, false)), (String
-    ((Ascii (false, false, true, false, false, true, true, false)), (String
-    ((Ascii (true, false, true, false, false, true, true, false)),
-    EmptyString))))))))))))))))))))))))))))))) :: ((SStr ((String ((Ascii
-    (false, true, false, false, true, false, true, false)), (String ((Ascii
-    (false, false, true, false, false, false, true, false)), (String ((Ascii
-    (false, true, true, false, false, false, true, false)), (String ((Ascii
-    (true, false, false, true, false, false, true, false)), (String ((Ascii
-    (true, false, false, true, false, false, true, false)), (String ((Ascii
-    (false, false, true, false, false, true, true, false)), (String ((Ascii
-    (true, false, true, false, false, true, true, false)), (String ((Ascii
-    (false, true, true, true, false, true, true, false)), (String ((Ascii
-    (false, false, true, false, true, true, true, false)), (String ((Ascii
-    (true, false, false, true, false, true, true, false)), (String ((Ascii
-    (false, true, true, false, false, true, true, false)), (String ((Ascii
-    (true, false, false, true, false, true, true, false)), (String ((Ascii
-    (true, true, false, false, false, true, true, false)), (String ((Ascii
-    (true, false, false, false, false, true, true, false)), (String ((Ascii
-    (false, false, true, false, true, true, true, false)), (String ((Ascii
-    (true, false, false, true, false, true, true, false)), (String ((Ascii
-    (true, true, true, true, false, true, true, false)), (String ((Ascii
-    (false, true, true, true, false, true, true, false)),
-    EmptyString)))))))))))))))))))))))))))))))))))), (S (S (S (S (S (S (S (S
-    O)))))))))) :: ((SRaw (String ((Ascii (true, true, false, false, false,
-    false, true, false)), (String ((Ascii (false, false, false, true, false,
-    true, true, false)), (String ((Ascii (true, false, true, false, false,
-    true, true, false)), (String ((Ascii (true, true, false, false, false,
-    true, true, false)), (String ((Ascii (true, true, false, true, false,
-    true, true, false)), (String ((Ascii (false, false, true, false, false,
-    false, true, false)), (String ((Ascii (true, false, false, true, false,
-    true, true, false)), (String ((Ascii (true, true, true, false, false,
-    true, true, false)), (String ((Ascii (true, false, false, true, false,
-    true, true, false)), (String ((Ascii (false, false, true, false, true,
-    true, true, false)), EmptyString))))))))))))))))))))) :: ((SNum ((String
-    ((Ascii (true, false, false, false, false, false, true, false)), (String
-    ((Ascii (false, false, true, false, false, true, true, false)), (String
-    ((Ascii (false, false, true, false, false, true, true, false)), (String
-    ((Ascii (true, false, true, false, false, true, true, false)), (String
-    ((Ascii (false, true, true, true, false, true, true, false)), (String
-    ((Ascii (false, false, true, false, false, true, true, false)), (String
-    ((Ascii (true, false, false, false, false, true, true, false)), (String
-    ((Ascii (false, true, false, false, true, false, true, false)), (String
-    ((Ascii (true, false, true, false, false, true, true, false)), (String
-    ((Ascii (true, true, false, false, false, true, true, false)), (String
-    ((Ascii (true, true, true, true, false, true, true, false)), (String
-    ((Ascii (false, true, false, false, true, true, true, false)), (String
-    ((Ascii (false, false, true, false, false, true, true, false)), (String
     ((Ascii (true, true, false, false, true, true, true, false)),
-    EmptyString)))))))))))))))))))))))))))), (S (S (S (S O)))))) :: ((SLit
-    ((Npos (XO (XO (XO (XO (XO XH)))))) :: ((Npos (XO (XO (XO (XO (XO
-    XH)))))) :: ((Npos (XO (XO (XO (XO (XO XH)))))) :: ((Npos (XO (XO (XO (XO
-    (XO XH)))))) :: ((Npos (XO (XO (XO (XO (XO XH)))))) :: ((Npos (XO (XO (XO
-    (XO (XO XH)))))) :: ((Npos (XO (XO (XO (XO (XO XH)))))) :: ((Npos (XO (XO
-    (XO (XO (XO XH)))))) :: ((Npos (XO (XO (XO (XO (XO XH)))))) :: ((Npos (XO
-    (XO (XO (XO (XO XH)))))) :: ((Npos (XO (XO (XO (XO (XO XH)))))) :: ((Npos
-    (XO (XO (XO (XO (XO XH)))))) :: ((Npos (XO (XO (XO (XO (XO
-    XH)))))) :: [])))))))))))))) :: ((SNum ((String ((Ascii (true, false,
-    false, false, false, false, true, false)), (String ((Ascii (true, false,
-    true, true, false, true, true, false)), (String ((Ascii (true, true,
-    true, true, false, true, true, false)), (String ((Ascii (true, false,
-    true, false, true, true, true, false)), (String ((Ascii (false, true,
-    true, true, false, true, true, false)), (String ((Ascii (false, false,
-    true, false, true, true, true, false)), EmptyString)))))))))))), (S (S (S
-    (S (S (S (S (S (S (S O)))))))))))) :: ((SAlpha ((String ((Ascii (false,
-    false, true, false, false, false, true, false)), (String ((Ascii (false,
-    true, true, false, false, false, true, false)), (String ((Ascii (true,
-    false, false, true, false, false, true, false)), (String ((Ascii (true,
-    false, false, false, false, false, true, false)), (String ((Ascii (true,
-    true, false, false, false, true, true, false)), (String ((Ascii (true,
-    true, false, false, false, true, true, false)), (String ((Ascii (true,
-    true, true, true, false, true, true, false)), (String ((Ascii (true,
-    false, true, false, true, true, true, false)), (String ((Ascii (false,
-    true, true, true, false, true, true, false)), (String ((Ascii (false,
-    false, true, false, true, true, true, false)), (String ((Ascii (false,
-    true, true, true, false, false, true, false)), (String ((Ascii (true,
-    false, true, false, true, true, true, false)), (String ((Ascii (true,
-    false, true, true, false, true, true, false)), (String ((Ascii (false,
-    true, false, false, false, true, true, false)), (String ((Ascii (true,
-    false, true, false, false, true, true, false)), (String ((Ascii (false,
-    true, false, false, true, true, true, false)),
-    EmptyString)))))))))))))))))))))))))))))))), (S (S (S (S (S (S (S (S (S
-    (S (S (S (S (S (S (S (S (S (S (S (S (S (S (S (S (S (S (S (S (S (S (S (S
-    (S (S O))))))))))))))))))))))))))))))))))))) :: ((SLit ((Npos (XO (XO (XO
-    (XO (XO XH)))))) :: ((Npos (XO (XO (XO (XO (XO
-    XH)))))) :: []))) :: ((SAlpha ((String ((Ascii (true, true, true, true,
-    false, false, true, false)), (String ((Ascii (false, true, true, false,
-    false, false, true, false)), (String ((Ascii (true, false, false, false,
-    false, false, true, false)), (String ((Ascii (true, true, false, false,
-    false, false, true, false)), (String ((Ascii (true, true, false, false,
-    true, false, true, false)), (String ((Ascii (true, true, false, false,
-    false, true, true, false)), (String ((Ascii (false, true, false, false,
-    true, true, true, false)), (String ((Ascii (true, false, true, false,
-    false, true, true, false)), (String ((Ascii (true, false, true, false,
-    false, true, true, false)), (String ((Ascii (false, true, true, true,
-    false, true, true, false)), (String ((Ascii (true, false, false, true,
-    false, true, true, false)), (String ((Ascii (false, true, true, true,
-    false, true, true, false)), (String ((Ascii (true, true, true, false,
-    false, true, true, false)), (String ((Ascii (true, false, false, true,
-    false, false, true, false)), (String ((Ascii (false, true, true, true,
-    false, true, true, false)), (String ((Ascii (false, false, true, false,
-    false, true, true, false)), (String ((Ascii (true, false, false, true,
-    false, true, true, false)), (String ((Ascii (true, true, false, false,
-    false, true, true, false)), (String ((Ascii (true, false, false, false,
-    false, true, true, false)), (String ((Ascii (false, false, true, false,
-    true, true, true, false)), (String ((Ascii (true, true, true, true,
-    false, true, true, false)), (String ((Ascii (false, true, false, false,
-    true, true, true, false)),
-    EmptyString)))))))))))))))))))))))))))))))))))))))))))), (S
-    O))) :: ((SAlpha ((String ((Ascii (true, true, false, false, true, false,
-    true, false)), (String ((Ascii (true, false, true, false, false, true,
-    true, false)), (String ((Ascii (true, true, false, false, false, true,
-    true, false)), (String ((Ascii (true, true, true, true, false, true,
-    true, false)), (String ((Ascii (false, true, true, true, false, true,
-    true, false)), (String ((Ascii (false, false, true, false, false, true,
-    true, false)), (String ((Ascii (true, false, false, false, false, true,
-    true, false)), (String ((Ascii (false, true, false, false, true, true,
-    true, false)), (String ((Ascii (true, false, false, true, true, true,
-    true, false)), (String ((Ascii (true, true, true, true, false, false,
-    true, false)), (String ((Ascii (false, true, true, false, false, false,
-    true, false)), (String ((Ascii (true, false, false, false, false, false,
-    true, false)), (String ((Ascii (true, true, false, false, false, false,
-    true, false)), (String ((Ascii (true, true, false, false, true, false,
-    true, false)), (String ((Ascii (true, true, false, false, false, true,
-    true, false)), (String ((Ascii (false, true, false, false, true, true,
-    true, false)), (String ((Ascii (true, false, true, false, false, true,
-    true, false)), (String ((Ascii (true, false, true, false, false, true,
-    true, false)), (String ((Ascii (false, true, true, true, false, true,
-    true, false)), (String ((Ascii (true, false, false, true, false, true,
-    true, false)), (String ((Ascii (false, true, true, true, false, true,
-    true, false)), (String ((Ascii (true, true, true, false, false, true,
-    true, false)), (String ((Ascii (true, false, false, true, false, false,
-    true, false)), (String ((Ascii (false, true, true, true, false, true,
-    true, false)), (String ((Ascii (false, false, true, false, false, true,
-    true, false)), (String ((Ascii (true, false, false, true, false, true,
-    true, false)), (String ((Ascii (true, true, false, false, false, true,
-    true, false)), (String ((Ascii (true, false, false, false, false, true,
-    true, false)), (String ((Ascii (false, false, true, false, true, true,
-    true, false)), (String ((Ascii (true, true, true, true, false, true,
-    true, false)), (String ((Ascii (false, true, false, false, true, true,
-    true, false)),
-    EmptyString)))))))))))))))))))))))))))))))))))))))))))))))))))))))))))))),
-    (S O))) :: ((SItoa (String ((Ascii (true, false, false, false, false,
-    false, true, false)), (String ((Ascii (false, false, true, false, false,
-    true, true, false)), (String ((Ascii (false, false, true, false, false,
-    true, true, false)), (String ((Ascii (true, false, true, false, false,
-    true, true, false)), (String ((Ascii (false, true, true, true, false,
-    true, true, false)), (String ((Ascii (false, false, true, false, false,
-    true, true, false)), (String ((Ascii (true, false, false, false, false,
-    true, true, false)), (String ((Ascii (false, true, false, false, true,
-    false, true, false)), (String ((Ascii (true, false, true, false, false,
-    true, true, false)), (String ((Ascii (true, true, false, false, false,
-    true, true, false)), (String ((Ascii (true, true, true, true, false,
-    true, true, false)), (String ((Ascii (false, true, false, false, true,
-    true, true, false)), (String ((Ascii (false, false, true, false, false,
-    true, true, false)), (String ((Ascii (true, false, false, true, false,
-    false, true, false)), (String ((Ascii (false, true, true, true, false,
-    true, true, false)), (String ((Ascii (false, false, true, false, false,
-    true, true, false)), (String ((Ascii (true, false, false, true, false,
-    true, true, false)), (String ((Ascii (true, true, false, false, false,
-    true, true, false)), (String ((Ascii (true, false, false, false, false,
-    true, true, false)), (String ((Ascii (false, false, true, false, true,
-    true, true, false)), (String ((Ascii (true, true, true, true, false,
-    true, true, false)), (String ((Ascii (false, true, false, false, true,
-    true, true, false)),
-    EmptyString))))))))))))))))))))))))))))))))))))))))))))) :: ((SStr
-    ((String ((Ascii (false, false, true, false, true, false, true, false)),
-    (String ((Ascii (false, true, false, false, true, true, true, false)),
-    (String ((Ascii (true, false, false, false, false, true, true, false)),
-    (String ((Ascii (true, true, false, false, false, true, true, false)),
-    (String ((Ascii (true, false, true, false, false, true, true, false)),
-    (String ((Ascii (false, true, true, true, false, false, true, false)),
-    (String ((Ascii (true, false, true, false, true, true, true, false)),
-    (String ((Ascii (true, false, true, true, false, true, true, false)),
-    (String ((Ascii (false, true, false, false, false, true, true, false)),
-    (String ((Ascii (true, false, true, false, false, true, true, false)),
-    (String ((Ascii (false, true, false, false, true, true, true, false)),
-    EmptyString)))))))))))))))))))))), (S (S (S (S (S (S (S (S (S (S (S (S (S
-    (S (S O))))))))))))))))) :: []))))))))))))); l_cuts =
-    ((mkcut O (S O) EmptyString []) :: ((mkcut (S O) (S (S (S O))) (String
-                                          ((Ascii (false, false, true, false,
-                                          true, false, true, false)), (String
-                                          ((Ascii (false, true, false, false,
-                                          true, true, true, false)), (String
-                                          ((Ascii (true, false, false, false,
-                                          false, true, true, false)), (String
-                                          ((Ascii (false, true, true, true,
-                                          false, true, true, false)), (String
-                                          ((Ascii (true, true, false, false,
-                                          true, true, true, false)), (String
-                                          ((Ascii (true, false, false, false,
-                                          false, true, true, false)), (String
-                                          ((Ascii (true, true, false, false,
-                                          false, true, true, false)), (String
-                                          ((Ascii (false, false, true, false,
-                                          true, true, true, false)), (String
-                                          ((Ascii (true, false, false, true,
-                                          false, true, true, false)), (String
-                                          ((Ascii (true, true, true, true,
-                                          false, true, true, false)), (String
-                                          ((Ascii (false, true, true, true,
-                                          false, true, true, false)), (String
-                                          ((Ascii (true, true, false, false,
-                                          false, false, true, false)),
-                                          (String ((Ascii (true, true, true,
-                                          true, false, true, true, false)),
-                                          (String ((Ascii (false, false,
-                                          true, false, false, true, true,
-                                          false)), (String ((Ascii (true,
-                                          false, true, false, false, true,
-                                          true, false)),
-                                          EmptyString))))))))))))))))))))))))))))))
-                                          ((String ((Ascii (false, false,
-                                          false, false, true, true, true,
-                                          false)), (String ((Ascii (true,
-                                          false, false, false, false, true,
-                                          true, false)), (String ((Ascii
-                                          (false, true, false, false, true,
-                                          true, true, false)), (String
-                                          ((Ascii (true, true, false, false,
-                                          true, true, true, false)), (String
-                                          ((Ascii (true, false, true, false,
-                                          false, true, true, false)), (String
-                                          ((Ascii (false, true, true, true,
-                                          false, false, true, false)),
-                                          (String ((Ascii (true, false, true,
-                                          false, true, true, true, false)),
-                                          (String ((Ascii (true, false, true,
-                                          true, false, true, true, false)),
-                                          (String ((Ascii (false, true, true,
-                                          false, false, false, true, false)),
-                                          (String ((Ascii (true, false,
-                                          false, true, false, true, true,
-                                          false)), (String ((Ascii (true,
-                                          false, true, false, false, true,
-                                          true, false)), (String ((Ascii
-                                          (false, false, true, true, false,
-                                          true, true, false)), (String
-                                          ((Ascii (false, false, true, false,
-                                          false, true, true, false)),
-                                          EmptyString)))))))))))))))))))))))))) :: [])) :: (
-    (mkcut (S (S (S O))) (S (S (S (S (S (S (S (S (S (S (S O)))))))))))
-      (String ((Ascii (false, true, false, false, true, false, true, false)),
-      (String ((Ascii (false, false, true, false, false, false, true,
-      false)), (String ((Ascii (false, true, true, false, false, false, true,
-      false)), (String ((Ascii (true, false, false, true, false, false, true,
-      false)), (String ((Ascii (true, false, false, true, false, false, true,
-      false)), (String ((Ascii (false, false, true, false, false, true, true,
-      false)), (String ((Ascii (true, false, true, false, false, true, true,
-      false)), (String ((Ascii (false, true, true, true, false, true, true,
-      false)), (String ((Ascii (false, false, true, false, true, true, true,
-      false)), (String ((Ascii (true, false, false, true, false, true, true,
-      false)), (String ((Ascii (false, true, true, false, false, true, true,
-      false)), (String ((Ascii (true, false, false, true, false, true, true,
-      false)), (String ((Ascii (true, true, false, false, false, true, true,
-      false)), (String ((Ascii (true, false, false, false, false, true, true,
-      false)), (String ((Ascii (false, false, true, false, true, true, true,
-      false)), (String ((Ascii (true, false, false, true, false, true, true,
-      false)), (String ((Ascii (true, true, true, true, false, true, true,
-      false)), (String ((Ascii (false, true, true, true, false, true, true,
-      false)), EmptyString)))))))))))))))))))))))))))))))))))) ((String
-      ((Ascii (false, false, false, false, true, true, true, false)), (String
-      ((Ascii (true, false, false, false, false, true, true, false)), (String
-      ((Ascii (false, true, false, false, true, true, true, false)), (String
-      ((Ascii (true, true, false, false, true, true, true, false)), (String
-      ((Ascii (true, false, true, false, false, true, true, false)), (String
-      ((Ascii (true, true, false, false, true, false, true, false)), (String
-      ((Ascii (false, false, true, false, true, true, true, false)), (String
-      ((Ascii (false, true, false, false, true, true, true, false)), (String
-      ((Ascii (true, false, false, true, false, true, true, false)), (String
-      ((Ascii (false, true, true, true, false, true, true, false)), (String
-      ((Ascii (true, true, true, false, false, true, true, false)), (String
-      ((Ascii (false, true, true, false, false, false, true, false)), (String
-      ((Ascii (true, false, false, true, false, true, true, false)), (String
-      ((Ascii (true, false, true, false, false, true, true, false)), (String
-      ((Ascii (false, false, true, true, false, true, true, false)), (String
-      ((Ascii (false, false, true, false, false, true, true, false)),
-      EmptyString)))))))))))))))))))))))))))))))) :: [])) :: ((mkcut (S (S (S
-                                                                (S (S (S (S
-                                                                (S (S (S (S
-                                                                O)))))))))))
-                                                                (S (S (S (S
-                                                                (S (S (S (S
-                                                                (S (S (S (S
-                                                                O))))))))))))
-                                                                (String
-                                                                ((Ascii
-                                                                (true, true,
-                                                                false, false,
-                                                                false, false,
-                                                                true,
-                                                                false)),
-                                                                (String
-                                                                ((Ascii
-                                                                (false,
-                                                                false, false,
-                                                                true, false,
-                                                                true, true,
-                                                                false)),
-                                                                (String
-                                                                ((Ascii
-                                                                (true, false,
-                                                                true, false,
-                                                                false, true,
-                                                                true,
-                                                                false)),
-                                                                (String
-                                                                ((Ascii
-                                                                (true, true,
-                                                                false, false,
-                                                                false, true,
-                                                                true,
-                                                                false)),
-                                                                (String
-                                                                ((Ascii
-                                                                (true, true,
-                                                                false, true,
-                                                                false, true,
-                                                                true,
-                                                                false)),
-                                                                (String
-                                                                ((Ascii
-                                                                (false,
-                                                                false, true,
-                                                                false, false,
-                                                                false, true,
-                                                                false)),
-                                                                (String
-                                                                ((Ascii
-                                                                (true, false,
-                                                                false, true,
-                                                                false, true,
-                                                                true,
-                                                                false)),
-                                                                (String
-                                                                ((Ascii
-                                                                (true, true,
-                                                                true, false,
-                                                                false, true,
-                                                                true,
-                                                                false)),
-                                                                (String
-                                                                ((Ascii
-                                                                (true, false,
-                                                                false, true,
-                                                                false, true,
-                                                                true,
-                                                                false)),
-                                                                (String
-                                                                ((Ascii
-                                                                (false,
-                                                                false, true,
-                                                                false, true,
-                                                                true, true,
-                                                                false)),
-                                                                EmptyString))))))))))))))))))))
-                                                                ((String
-                                                                ((Ascii
-                                                                (false,
-                                                                false, false,
-                                                                false, true,
-                                                                true, true,
-                                                                false)),
-                                                                (String
-                                                                ((Ascii
-                                                                (true, false,
-                                                                false, false,
-                                                                false, true,
-                                                                true,
-                                                                false)),
-                                                                (String
-                                                                ((Ascii
-                                                                (false, true,
-                                                                false, false,
-                                                                true, true,
-                                                                true,
-                                                                false)),
-                                                                (String
-                                                                ((Ascii
-                                                                (true, true,
-                                                                false, false,
-                                                                true, true,
-                                                                true,
-                                                                false)),
-                                                                (String
-                                                                ((Ascii
-                                                                (true, false,
-                                                                true, false,
-                                                                false, true,
-                                                                true,
-                                                                false)),
-                                                                (String
-                                                                ((Ascii
-                                                                (true, true,
-                                                                false, false,
-                                                                true, false,
-                                                                true,
-                                                                false)),
-                                                                (String
-                                                                ((Ascii
-                                                                (false,
-                                                                false, true,
-                                                                false, true,
-                                                                true, true,
-                                                                false)),
-                                                                (String
-                                                                ((Ascii
-                                                                (false, true,
-                                                                false, false,
-                                                                true, true,
-                                                                true,
-                                                                false)),
-                                                                (String
-                                                                ((Ascii
-                                                                (true, false,
-                                                                false, true,
-                                                                false, true,
-                                                                true,
-                                                                false)),
-                                                                (String
-                                                                ((Ascii
-                                                                (false, true,
-                                                                true, true,
-                                                                false, true,
-                                                                true,
-                                                                false)),
-                                                                (String
-                                                                ((Ascii
-                                                                (true, true,
-                                                                true, false,
-                                                                false, true,
-                                                                true,
-                                                                false)),
-                                                                (String
-                                                                ((Ascii
-                                                                (false, true,
-                                                                true, false,
-                                                                false, false,
-                                                                true,
-                                                                false)),
-                                                                (String
-                                                                ((Ascii
-                                                                (true, false,
-                                                                false, true,
-                                                                false, true,
-                                                                true,
-                                                                false)),
-                                                                (String
-                                                                ((Ascii
-                                                                (true, false,
-                                                                true, false,
-                                                                false, true,
-                                                                true,
-                                                                false)),
-                                                                (String
-                                                                ((Ascii
-                                                                (false,
-                                                                false, true,
-                                                                true, false,
-                                                                true, true,
-                                                                false)),
-                                                                (String
-                                                                ((Ascii
-                                                                (false,
-                                                                false, true,
-                                                                false, false,
-                                                                true, true,
-                                                                false)),
-                                                                EmptyString)))))))))))))))))))))))))))))))) :: [])) :: (
-    (mkcut (S (S (S (S (S (S (S (S (S (S (S (S O)))))))))))) (S (S (S (S (S
-      (S (S (S (S (S (S (S (S (S (S (S O)))))))))))))))) (String ((Ascii
-      (true, false, false, false, false, false, true, false)), (String
-      ((Ascii (false, false, true, false, false, true, true, false)), (String
-      ((Ascii (false, false, true, false, false, true, true, false)), (String
-      ((Ascii (true, false, true, false, false, true, true, false)), (String
-      ((Ascii (false, true, true, true, false, true, true, false)), (String
-      ((Ascii (false, false, true, false, false, true, true, false)), (String
-      ((Ascii (true, false, false, false, false, true, true, false)), (String
-      ((Ascii (false, true, false, false, true, false, true, false)), (String
-      ((Ascii (true, false, true, false, false, true, true, false)), (String
-      ((Ascii (true, true, false, false, false, true, true, false)), (String
-      ((Ascii (true, true, true, true, false, true, true, false)), (String
-      ((Ascii (false, true, false, false, true, true, true, false)), (String
-      ((Ascii (false, false, true, false, false, true, true, false)), (String
-      ((Ascii (true, true, false, false, true, true, true, false)),
-      EmptyString)))))))))))))))))))))))))))) ((String ((Ascii (false, false,
-      false, false, true, true, true, false)), (String ((Ascii (true, false,
-      false, false, false, true, true, false)), (String ((Ascii (false, true,
-      false, false, true, true, true, false)), (String ((Ascii (true, true,
-      false, false, true, true, true, false)), (String ((Ascii (true, false,
-      true, false, false, true, true, false)), (String ((Ascii (false, true,
-      true, true, false, false, true, false)), (String ((Ascii (true, false,
-      true, false, true, true, true, false)), (String ((Ascii (true, false,
-      true, true, false, true, true, false)), (String ((Ascii (false, true,
-      true, false, false, false, true, false)), (String ((Ascii (true, false,
-      false, true, false, true, true, false)), (String ((Ascii (true, false,
-      true, false, false, true, true, false)), (String ((Ascii (false, false,
-      true, true, false, true, true, false)), (String ((Ascii (false, false,
-      true, false, false, true, true, false)),
-      EmptyString)))))))))))))))))))))))))) :: [])) :: ((mkcut (S (S (S (S (S
-                                                          (S (S (S (S (S (S
-                                                          (S (S (S (S (S
-                                                          O))))))))))))))))
-                                                          (S (S (S (S (S (S
-                                                          (S (S (S (S (S (S
-                                                          (S (S (S (S (S (S
-                                                          (S (S (S (S (S (S
-                                                          (S (S (S (S (S
-                                                          O)))))))))))))))))))))))))))))
-                                                          EmptyString []) :: (
-    (mkcut (S (S (S (S (S (S (S (S (S (S (S (S (S (S (S (S (S (S (S (S (S (S
-      (S (S (S (S (S (S (S O))))))))))))))))))))))))))))) (S (S (S (S (S (S
-      (S (S (S (S (S (S (S (S (S (S (S (S (S (S (S (S (S (S (S (S (S (S (S (S
-      (S (S (S (S (S (S (S (S (S O)))))))))))))))))))))))))))))))))))))))
-      (String ((Ascii (true, false, false, false, false, false, true,
-      false)), (String ((Ascii (true, false, true, true, false, true, true,
-      false)), (String ((Ascii (true, true, true, true, false, true, true,
-      false)), (String ((Ascii (true, false, true, false, true, true, true,
-      false)), (String ((Ascii (false, true, true, true, false, true, true,
-      false)), (String ((Ascii (false, false, true, false, true, true, true,
-      false)), EmptyString)))))))))))) ((String ((Ascii (false, false, false,
-      false, true, true, true, false)), (String ((Ascii (true, false, false,
-      false, false, true, true, false)), (String ((Ascii (false, true, false,
-      false, true, true, true, false)), (String ((Ascii (true, true, false,
-      false, true, true, true, false)), (String ((Ascii (true, false, true,
-      false, false, true, true, false)), (String ((Ascii (false, true, true,
-      true, false, false, true, false)), (String ((Ascii (true, false, true,
-      false, true, true, true, false)), (String ((Ascii (true, false, true,
-      true, false, true, true, false)), (String ((Ascii (false, true, true,
-      false, false, false, true, false)), (String ((Ascii (true, false,
-      false, true, false, true, true, false)), (String ((Ascii (true, false,
-      true, false, false, true, true, false)), (String ((Ascii (false, false,
-      true, true, false, true, true, false)), (String ((Ascii (false, false,
-      true, false, false, true, true, false)),
-      EmptyString)))))))))))))))))))))))))) :: [])) :: ((mkcut (S (S (S (S (S
-                                                          (S (S (S (S (S (S
-                                                          (S (S (S (S (S (S
-                                                          (S (S (S (S (S (S
-                                                          (S (S (S (S (S (S
-                                                          (S (S (S (S (S (S
-                                                          (S (S (S (S
-                                                          O)))))))))))))))))))))))))))))))))))))))
-                                                          (S (S (S (S (S (S
-                                                          (S (S (S (S (S (S
-                                                          (S (S (S (S (S (S
-                                                          (S (S (S (S (S (S
-                                                          (S (S (S (S (S (S
-                                                          (S (S (S (S (S (S
-                                                          (S (S (S (S (S (S
-                                                          (S (S (S (S (S (S
-                                                          (S (S (S (S (S (S
-                                                          (S (S (S (S (S (S
-                                                          (S (S (S (S (S (S
-                                                          (S (S (S (S (S (S
-                                                          (S (S
-                                                          O))))))))))))))))))))))))))))))))))))))))))))))))))))))))))))))))))))))))))
-                                                          (String ((Ascii
-                                                          (false, false,
-                                                          true, false, false,
-                                                          false, true,
-                                                          false)), (String
-                                                          ((Ascii (false,
-                                                          true, true, false,
-                                                          false, false, true,
-                                                          false)), (String
-                                                          ((Ascii (true,
-                                                          false, false, true,
-                                                          false, false, true,
-                                                          false)), (String
-                                                          ((Ascii (true,
-                                                          false, false,
-                                                          false, false,
-                                                          false, true,
-                                                          false)), (String
-                                                          ((Ascii (true,
-                                                          true, false, false,
-                                                          false, true, true,
-                                                          false)), (String
-                                                          ((Ascii (true,
-                                                          true, false, false,
-                                                          false, true, true,
-                                                          false)), (String
-                                                          ((Ascii (true,
-                                                          true, true, true,
-                                                          false, true, true,
-                                                          false)), (String
-                                                          ((Ascii (true,
-                                                          false, true, false,
-                                                          true, true, true,
-                                                          false)), (String
-                                                          ((Ascii (false,
-                                                          true, true, true,
-                                                          false, true, true,
-                                                          false)), (String
-                                                          ((Ascii (false,
-                                                          false, true, false,
-                                                          true, true, true,
-                                                          false)), (String
-                                                          ((Ascii (false,
-                                                          true, true, true,
-                                                          false, false, true,
-                                                          false)), (String
-                                                          ((Ascii (true,
-                                                          false, true, false,
-                                                          true, true, true,
-                                                          false)), (String
-                                                          ((Ascii (true,
-                                                          false, true, true,
-                                                          false, true, true,
-                                                          false)), (String
-                                                          ((Ascii (false,
-                                                          true, false, false,
-                                                          false, true, true,
-                                                          false)), (String
-                                                          ((Ascii (true,
-                                                          false, true, false,
-                                                          false, true, true,
-                                                          false)), (String
-                                                          ((Ascii (false,
-                                                          true, false, false,
-                                                          true, true, true,
-                                                          false)),
-                                                          EmptyString))))))))))))))))))))))))))))))))
-                                                          ((String ((Ascii
-                                                          (false, false,
-                                                          false, false, true,
-                                                          true, true,
-                                                          false)), (String
-                                                          ((Ascii (true,
-                                                          false, false,
-                                                          false, false, true,
-                                                          true, false)),
-                                                          (String ((Ascii
-                                                          (false, true,
-                                                          false, false, true,
-                                                          true, true,
-                                                          false)), (String
-                                                          ((Ascii (true,
-                                                          true, false, false,
-                                                          true, true, true,
-                                                          false)), (String
-                                                          ((Ascii (true,
-                                                          false, true, false,
-                                                          false, true, true,
-                                                          false)), (String
-                                                          ((Ascii (true,
-                                                          true, false, false,
-                                                          true, false, true,
-                                                          false)), (String
-                                                          ((Ascii (false,
-                                                          false, true, false,
-                                                          true, true, true,
-                                                          false)), (String
-                                                          ((Ascii (false,
-                                                          true, false, false,
-                                                          true, true, true,
-                                                          false)), (String
-                                                          ((Ascii (true,
-                                                          false, false, true,
-                                                          false, true, true,
-                                                          false)), (String
-                                                          ((Ascii (false,
-                                                          true, true, true,
-                                                          false, true, true,
-                                                          false)), (String
-                                                          ((Ascii (true,
-                                                          true, true, false,
-                                                          false, true, true,
-                                                          false)), (String
-                                                          ((Ascii (false,
-                                                          true, true, false,
-                                                          false, false, true,
-                                                          false)), (String
-                                                          ((Ascii (true,
-                                                          false, false, true,
-                                                          false, true, true,
-                                                          false)), (String
-                                                          ((Ascii (true,
-                                                          false, true, false,
-                                                          false, true, true,
-                                                          false)), (String
-                                                          ((Ascii (false,
-                                                          false, true, true,
-                                                          false, true, true,
-                                                          false)), (String
-                                                          ((Ascii (false,
-                                                          false, true, false,
-                                                          false, true, true,
-                                                          false)), (String
-                                                          ((Ascii (true,
-                                                          true, true, false,
-                                                          true, false, true,
-                                                          false)), (String
-                                                          ((Ascii (true,
-                                                          false, false, true,
-                                                          false, true, true,
-                                                          false)), (String
-                                                          ((Ascii (false,
-                                                          false, true, false,
-                                                          true, true, true,
-                                                          false)), (String
-                                                          ((Ascii (false,
-                                                          false, false, true,
-                                                          false, true, true,
-                                                          false)), (String
-                                                          ((Ascii (true,
-                                                          true, true, true,
-                                                          false, false, true,
-                                                          false)), (String
-                                                          ((Ascii (false,
-                                                          false, false,
-                                                          false, true, true,
-                                                          true, false)),
-                                                          (String ((Ascii
-                                                          (false, false,
-                                                          true, false, true,
-                                                          true, true,
-                                                          false)), (String
-                                                          ((Ascii (true,
-                                                          true, false, false,
-                                                          true, true, true,
-                                                          false)),
-                                                          EmptyString)))))))))))))))))))))))))))))))))))))))))))))))) :: [])) :: (
-    (mkcut (S (S (S (S (S (S (S (S (S (S (S (S (S (S (S (S (S (S (S (S (S (S
-      (S (S (S (S (S (S (S (S (S (S (S (S (S (S (S (S (S (S (S (S (S (S (S (S
-      (S (S (S (S (S (S (S (S (S (S (S (S (S (S (S (S (S (S (S (S (S (S (S (S
-      (S (S (S (S
-      O))))))))))))))))))))))))))))))))))))))))))))))))))))))))))))))))))))))))))
-      (S (S (S (S (S (S (S (S (S (S (S (S (S (S (S (S (S (S (S (S (S (S (S (S
-      (S (S (S (S (S (S (S (S (S (S (S (S (S (S (S (S (S (S (S (S (S (S (S (S
-      (S (S (S (S (S (S (S (S (S (S (S (S (S (S (S (S (S (S (S (S (S (S (S (S
-      (S (S (S (S
-      O))))))))))))))))))))))))))))))))))))))))))))))))))))))))))))))))))))))))))))
-      EmptyString []) :: ((mkcut (S (S (S (S (S (S (S (S (S (S (S (S (S (S (S
-                            (S (S (S (S (S (S (S (S (S (S (S (S (S (S (S (S
-                            (S (S (S (S (S (S (S (S (S (S (S (S (S (S (S (S
-                            (S (S (S (S (S (S (S (S (S (S (S (S (S (S (S (S
-                            (S (S (S (S (S (S (S (S (S (S (S (S (S
-                            O))))))))))))))))))))))))))))))))))))))))))))))))))))))))))))))))))))))))))))
-                            (S (S (S (S (S (S (S (S (S (S (S (S (S (S (S (S
-                            (S (S (S (S (S (S (S (S (S (S (S (S (S (S (S (S
-                            (S (S (S (S (S (S (S (S (S (S (S (S (S (S (S (S
-                            (S (S (S (S (S (S (S (S (S (S (S (S (S (S (S (S
-                            (S (S (S (S (S (S (S (S (S (S (S (S (S
-                            O)))))))))))))))))))))))))))))))))))))))))))))))))))))))))))))))))))))))))))))
-                            EmptyString []) :: ((mkconst (String ((Ascii
-                                                  (true, true, true, true,
-                                                  false, false, true,
-                                                  false)), (String ((Ascii
-                                                  (false, true, true, false,
-                                                  false, false, true,
-                                                  false)), (String ((Ascii
-                                                  (true, false, false, false,
-                                                  false, false, true,
-                                                  false)), (String ((Ascii
-                                                  (true, true, false, false,
-                                                  false, false, true,
-                                                  false)), (String ((Ascii
-                                                  (true, true, false, false,
-                                                  true, false, true, false)),
-                                                  (String ((Ascii (true,
-                                                  true, false, false, false,
-                                                  true, true, false)),
-                                                  (String ((Ascii (false,
-                                                  true, false, false, true,
-                                                  true, true, false)),
-                                                  (String ((Ascii (true,
-                                                  false, true, false, false,
-                                                  true, true, false)),
-                                                  (String ((Ascii (true,
-                                                  false, true, false, false,
-                                                  true, true, false)),
-                                                  (String ((Ascii (false,
-                                                  true, true, true, false,
-                                                  true, true, false)),
-                                                  (String ((Ascii (true,
-                                                  false, false, true, false,
-                                                  true, true, false)),
-                                                  (String ((Ascii (false,
-                                                  true, true, true, false,
-                                                  true, true, false)),
-                                                  (String ((Ascii (true,
-                                                  true, true, false, false,
-                                                  true, true, false)),
-                                                  (String ((Ascii (true,
-                                                  false, false, true, false,
-                                                  false, true, false)),
-                                                  (String ((Ascii (false,
-                                                  true, true, true, false,
-                                                  true, true, false)),
-                                                  (String ((Ascii (false,
-                                                  false, true, false, false,
-                                                  true, true, false)),
-                                                  (String ((Ascii (true,
-                                                  false, false, true, false,
-                                                  true, true, false)),
-                                                  (String ((Ascii (true,
-                                                  true, false, false, false,
-                                                  true, true, false)),
-                                                  (String ((Ascii (true,
-                                                  false, false, false, false,
-                                                  true, true, false)),
-                                                  (String ((Ascii (false,
-                                                  false, true, false, true,
-                                                  true, true, false)),
-                                                  (String ((Ascii (true,
-                                                  true, true, true, false,
-                                                  true, true, false)),
-                                                  (String ((Ascii (false,
-                                                  true, false, false, true,
-                                                  true, true, false)),
-                                                  EmptyString))))))))))))))))))))))))))))))))))))))))))))
-                                                  ((Npos (XO (XO (XO (XO (XO
-                                                  XH)))))) :: [])) :: (
-    (mkcut (S (S (S (S (S (S (S (S (S (S (S (S (S (S (S (S (S (S (S (S (S (S
-      (S (S (S (S (S (S (S (S (S (S (S (S (S (S (S (S (S (S (S (S (S (S (S (S
-      (S (S (S (S (S (S (S (S (S (S (S (S (S (S (S (S (S (S (S (S (S (S (S (S
-      (S (S (S (S (S (S (S
-      O)))))))))))))))))))))))))))))))))))))))))))))))))))))))))))))))))))))))))))))
-      (S (S (S (S (S (S (S (S (S (S (S (S (S (S (S (S (S (S (S (S (S (S (S (S
-      (S (S (S (S (S (S (S (S (S (S (S (S (S (S (S (S (S (S (S (S (S (S (S (S
-      (S (S (S (S (S (S (S (S (S (S (S (S (S (S (S (S (S (S (S (S (S (S (S (S
-      (S (S (S (S (S (S
-      O))))))))))))))))))))))))))))))))))))))))))))))))))))))))))))))))))))))))))))))
-      EmptyString []) :: ((mkconst (String ((Ascii (true, true, false, false,
-                            true, false, true, false)), (String ((Ascii
-                            (true, false, true, false, false, true, true,
-                            false)), (String ((Ascii (true, true, false,
-                            false, false, true, true, false)), (String
-                            ((Ascii (true, true, true, true, false, true,
-                            true, false)), (String ((Ascii (false, true,
-                            true, true, false, true, true, false)), (String
-                            ((Ascii (false, false, true, false, false, true,
-                            true, false)), (String ((Ascii (true, false,
-                            false, false, false, true, true, false)), (String
-                            ((Ascii (false, true, false, false, true, true,
-                            true, false)), (String ((Ascii (true, false,
-                            false, true, true, true, true, false)), (String
-                            ((Ascii (true, true, true, true, false, false,
-                            true, false)), (String ((Ascii (false, true,
-                            true, false, false, false, true, false)), (String
-                            ((Ascii (true, false, false, false, false, false,
-                            true, false)), (String ((Ascii (true, true,
-                            false, false, false, false, true, false)),
-                            (String ((Ascii (true, true, false, false, true,
-                            false, true, false)), (String ((Ascii (true,
-                            true, false, false, false, true, true, false)),
-                            (String ((Ascii (false, true, false, false, true,
-                            true, true, false)), (String ((Ascii (true,
-                            false, true, false, false, true, true, false)),
-                            (String ((Ascii (true, false, true, false, false,
-                            true, true, false)), (String ((Ascii (false,
-                            true, true, true, false, true, true, false)),
-                            (String ((Ascii (true, false, false, true, false,
-                            true, true, false)), (String ((Ascii (false,
-                            true, true, true, false, true, true, false)),
-                            (String ((Ascii (true, true, true, false, false,
-                            true, true, false)), (String ((Ascii (true,
-                            false, false, true, false, false, true, false)),
-                            (String ((Ascii (false, true, true, true, false,
-                            true, true, false)), (String ((Ascii (false,
-                            false, true, false, false, true, true, false)),
-                            (String ((Ascii (true, false, false, true, false,
-                            true, true, false)), (String ((Ascii (true, true,
-                            false, false, false, true, true, false)), (String
-                            ((Ascii (true, false, false, false, false, true,
-                            true, false)), (String ((Ascii (false, false,
-                            true, false, true, true, true, false)), (String
-                            ((Ascii (true, true, true, true, false, true,
-                            true, false)), (String ((Ascii (false, true,
-                            false, false, true, true, true, false)),
-                            EmptyString))))))))))))))))))))))))))))))))))))))))))))))))))))))))))))))
-                            ((Npos (XO (XO (XO (XO (XO XH)))))) :: [])) :: (
-    (mkcut (S (S (S (S (S (S (S (S (S (S (S (S (S (S (S (S (S (S (S (S (S (S
-      (S (S (S (S (S (S (S (S (S (S (S (S (S (S (S (S (S (S (S (S (S (S (S (S
-      (S (S (S (S (S (S (S (S (S (S (S (S (S (S (S (S (S (S (S (S (S (S (S (S
-      (S (S (S (S (S (S (S (S
-      O))))))))))))))))))))))))))))))))))))))))))))))))))))))))))))))))))))))))))))))
-      (S (S (S (S (S (S (S (S (S (S (S (S (S (S (S (S (S (S (S (S (S (S (S (S
-      (S (S (S (S (S (S (S (S (S (S (S (S (S (S (S (S (S (S (S (S (S (S (S (S
-      (S (S (S (S (S (S (S (S (S (S (S (S (S (S (S (S (S (S (S (S (S (S (S (S
-      (S (S (S (S (S (S (S
-      O)))))))))))))))))))))))))))))))))))))))))))))))))))))))))))))))))))))))))))))))
-      (String ((Ascii (true, false, false, false, false, false, true,
-      false)), (String ((Ascii (false, false, true, false, false, true, true,
-      false)), (String ((Ascii (false, false, true, false, false, true, true,
-      false)), (String ((Ascii (true, false, true, false, false, true, true,
-      false)), (String ((Ascii (false, true, true, true, false, true, true,
-      false)), (String ((Ascii (false, false, true, false, false, true, true,
-      false)), (String ((Ascii (true, false, false, false, false, true, true,
-      false)), (String ((Ascii (false, true, false, false, true, false, true,
-      false)), (String ((Ascii (true, false, true, false, false, true, true,
-      false)), (String ((Ascii (true, true, false, false, false, true, true,
-      false)), (String ((Ascii (true, true, true, true, false, true, true,
-      false)), (String ((Ascii (false, true, false, false, true, true, true,
-      false)), (String ((Ascii (false, false, true, false, false, true, true,
-      false)), (String ((Ascii (true, false, false, true, false, false, true,
-      false)), (String ((Ascii (false, true, true, true, false, true, true,
-      false)), (String ((Ascii (false, false, true, false, false, true, true,
-      false)), (String ((Ascii (true, false, false, true, false, true, true,
-      false)), (String ((Ascii (true, true, false, false, false, true, true,
-      false)), (String ((Ascii (true, false, false, false, false, true, true,
-      false)), (String ((Ascii (false, false, true, false, true, true, true,
-      false)), (String ((Ascii (true, true, true, true, false, true, true,
-      false)), (String ((Ascii (false, true, false, false, true, true, true,
-      false)), EmptyString))))))))))))))))))))))))))))))))))))))))))))
-      ((String ((Ascii (false, false, false, false, true, true, true,
-      false)), (String ((Ascii (true, false, false, false, false, true, true,
-      false)), (String ((Ascii (false, true, false, false, true, true, true,
-      false)), (String ((Ascii (true, true, false, false, true, true, true,
-      false)), (String ((Ascii (true, false, true, false, false, true, true,
-      false)), (String ((Ascii (false, true, true, true, false, false, true,
-      false)), (String ((Ascii (true, false, true, false, true, true, true,
-      false)), (String ((Ascii (true, false, true, true, false, true, true,
-      false)), (String ((Ascii (false, true, true, false, false, false, true,
-      false)), (String ((Ascii (true, false, false, true, false, true, true,
-      false)), (String ((Ascii (true, false, true, false, false, true, true,
-      false)), (String ((Ascii (false, false, true, true, false, true, true,
-      false)), (String ((Ascii (false, false, true, false, false, true, true,
-      false)), EmptyString)))))))))))))))))))))))))) :: [])) :: ((mkcut (S (S
-                                                                   (S (S (S
-                                                                   (S (S (S
-                                                                   (S (S (S
-                                                                   (S (S (S
-                                                                   (S (S (S
-                                                                   (S (S (S
-                                                                   (S (S (S
-                                                                   (S (S (S
-                                                                   (S (S (S
-                                                                   (S (S (S
-                                                                   (S (S (S
-                                                                   (S (S (S
-                                                                   (S (S (S
-                                                                   (S (S (S
-                                                                   (S (S (S
-                                                                   (S (S (S
-                                                                   (S (S (S
-                                                                   (S (S (S
-                                                                   (S (S (S
-                                                                   (S (S (S
-                                                                   (S (S (S
-                                                                   (S (S (S
-                                                                   (S (S (S
-                                                                   (S (S (S
-                                                                   (S (S (S
-                                                                   (S (S
-                                                                   O)))))))))))))))))))))))))))))))))))))))))))))))))))))))))))))))))))))))))))))))
-                                                                   (S (S (S
-                                                                   (S (S (S
-                                                                   (S (S (S
-                                                                   (S (S (S
-                                                                   (S (S (S
-                                                                   (S (S (S
-                                                                   (S (S (S
-                                                                   (S (S (S
-                                                                   (S (S (S
-                                                                   (S (S (S
-                                                                   (S (S (S
-                                                                   (S (S (S
-                                                                   (S (S (S
-                                                                   (S (S (S
-                                                                   (S (S (S
-                                                                   (S (S (S
-                                                                   (S (S (S
-                                                                   (S (S (S
-                                                                   (S (S (S
-                                                                   (S (S (S
-                                                                   (S (S (S
-                                                                   (S (S (S
-                                                                   (S (S (S
-                                                                   (S (S (S
-                                                                   (S (S (S
-                                                                   (S (S (S
-                                                                   (S (S (S
-                                                                   (S (S (S
-                                                                   (S (S (S
-                                                                   (S (S (S
-                                                                   (S (S (S
-                                                                   (S
-                                                                   O))))))))))))))))))))))))))))))))))))))))))))))))))))))))))))))))))))))))))))))))))))))))))))))
-                                                                   (String
-                                                                   ((Ascii
-                                                                   (false,
-                                                                   false,
-                                                                   true,
-                                                                   false,
-                                                                   true,
-                                                                   false,
-                                                                   true,
-                                                                   false)),
-                                                                   (String
-                                                                   ((Ascii
-                                                                   (false,
-                                                                   true,
-                                                                   false,
-                                                                   false,
-                                                                   true,
-                                                                   true,
-                                                                   true,
-                                                                   false)),
-                                                                   (String
-                                                                   ((Ascii
-                                                                   (true,
-                                                                   false,
-                                                                   false,
-                                                                   false,
-                                                                   false,
-                                                                   true,
-                                                                   true,
-                                                                   false)),
-                                                                   (String
-                                                                   ((Ascii
-                                                                   (true,
-                                                                   true,
-                                                                   false,
-                                                                   false,
-                                                                   false,
-                                                                   true,
-                                                                   true,
-                                                                   false)),
-                                                                   (String
-                                                                   ((Ascii
-                                                                   (true,
-                                                                   false,
-                                                                   true,
-                                                                   false,
-                                                                   false,
-                                                                   true,
-                                                                   true,
-                                                                   false)),
-                                                                   (String
-                                                                   ((Ascii
-                                                                   (false,
-                                                                   true,
-                                                                   true,
-                                                                   true,
-                                                                   false,
-                                                                   false,
-                                                                   true,
-                                                                   false)),
-                                                                   (String
-                                                                   ((Ascii
-                                                                   (true,
-                                                                   false,
-                                                                   true,
-                                                                   false,
-                                                                   true,
-                                                                   true,
-                                                                   true,
-                                                                   false)),
-                                                                   (String
-                                                                   ((Ascii
-                                                                   (true,
-                                                                   false,
-                                                                   true,
-                                                                   true,
-                                                                   false,
-                                                                   true,
-                                                                   true,
-                                                                   false)),
-                                                                   (String
-                                                                   ((Ascii
-                                                                   (false,
-                                                                   true,
-                                                                   false,
-                                                                   false,
-                                                                   false,
-                                                                   true,
-                                                                   true,
-                                                                   false)),
-                                                                   (String
-                                                                   ((Ascii
-                                                                   (true,
-                                                                   false,
-                                                                   true,
-                                                                   false,
-                                                                   false,
-                                                                   true,
-                                                                   true,
-                                                                   false)),
-                                                                   (String
-                                                                   ((Ascii
-                                                                   (false,
-                                                                   true,
-                                                                   false,
-                                                                   false,
-                                                                   true,
-                                                                   true,
-                                                                   true,
-                                                                   false)),
-                                                                   EmptyString))))))))))))))))))))))
-                                                                   ((String
-                                                                   ((Ascii
-                                                                   (true,
-                                                                   true,
-                                                                   false,
-                                                                   false,
-                                                                   true,
-                                                                   true,
-                                                                   true,
-                                                                   false)),
-                                                                   (String
-                                                                   ((Ascii
-                                                                   (false,
-                                                                   false,
-                                                                   true,
-                                                                   false,
-                                                                   true,
-                                                                   true,
-                                                                   true,
-                                                                   false)),
-                                                                   (String
-                                                                   ((Ascii
-                                                                   (false,
-                                                                   true,
-                                                                   false,
-                                                                   false,
-                                                                   true,
-                                                                   true,
-                                                                   true,
-                                                                   false)),
-                                                                   (String
-                                                                   ((Ascii
-                                                                   (true,
-                                                                   false,
-                                                                   false,
-                                                                   true,
-                                                                   false,
-                                                                   true,
-                                                                   true,
-                                                                   false)),
-                                                                   (String
-                                                                   ((Ascii
-                                                                   (false,
-                                                                   true,
-                                                                   true,
-                                                                   true,
-                                                                   false,
-                                                                   true,
-                                                                   true,
-                                                                   false)),
-                                                                   (String
-                                                                   ((Ascii
-                                                                   (true,
-                                                                   true,
-                                                                   true,
-                                                                   false,
-                                                                   false,
-                                                                   true,
-                                                                   true,
-                                                                   false)),
-                                                                   (String
-                                                                   ((Ascii
-                                                                   (true,
-                                                                   true,
-                                                                   false,
-                                                                   false,
-                                                                   true,
-                                                                   true,
-                                                                   true,
-                                                                   false)),
-                                                                   (String
-                                                                   ((Ascii
-                                                                   (false,
-                                                                   true,
-                                                                   true,
-                                                                   true,
-                                                                   false,
-                                                                   true,
-                                                                   false,
-                                                                   false)),
-                                                                   (String
-                                                                   ((Ascii
-                                                                   (false,
-                                                                   false,
-                                                                   true,
-                                                                   false,
-                                                                   true,
-                                                                   false,
-                                                                   true,
-                                                                   false)),
-                                                                   (String
-                                                                   ((Ascii
-                                                                   (false,
-                                                                   true,
-                                                                   false,
-                                                                   false,
-                                                                   true,
-                                                                   true,
-                                                                   true,
-                                                                   false)),
-                                                                   (String
-                                                                   ((Ascii
-                                                                   (true,
-                                                                   false,
-                                                                   false,
-                                                                   true,
-                                                                   false,
-                                                                   true,
-                                                                   true,
-                                                                   false)),
-                                                                   (String
-                                                                   ((Ascii
-                                                                   (true,
-                                                                   false,
-                                                                   true,
-                                                                   true,
-                                                                   false,
-                                                                   true,
-                                                                   true,
-                                                                   false)),
-                                                                   (String
-                                                                   ((Ascii
-                                                                   (true,
-                                                                   true,
-                                                                   false,
-                                                                   false,
-                                                                   true,
-                                                                   false,
-                                                                   true,
-                                                                   false)),
-                                                                   (String
-                                                                   ((Ascii
-                                                                   (false,
-                                                                   false,
-                                                                   false,
-                                                                   false,
-                                                                   true,
-                                                                   true,
-                                                                   true,
-                                                                   false)),
-                                                                   (String
-                                                                   ((Ascii
-                                                                   (true,
-                                                                   false,
-                                                                   false,
-                                                                   false,
-                                                                   false,
-                                                                   true,
-                                                                   true,
-                                                                   false)),
-                                                                   (String
-                                                                   ((Ascii
-                                                                   (true,
-                                                                   true,
-                                                                   false,
-                                                                   false,
-                                                                   false,
-                                                                   true,
-                                                                   true,
-                                                                   false)),
-                                                                   (String
-                                                                   ((Ascii
-                                                                   (true,
-                                                                   false,
-                                                                   true,
-                                                                   false,
-                                                                   false,
-                                                                   true,
-                                                                   true,
-                                                                   false)),
-                                                                   EmptyString)))))))))))))))))))))))))))))))))) :: [])) :: []))))))))))))))) }
+    EmptyString)))))))))))))))))))))))))); s_guarded = true; s_done = (String
+    ((Ascii (true, true, true, false, false, true, true, false)), (String
+    ((Ascii (false, true, false, false, true, true, true, false)), (String
+    ((Ascii (true, true, true, true, false, true, true, false)), (String
+    ((Ascii (true, false, true, false, true, true, true, false)), (String
+    ((Ascii (false, false, false, false, true, true, true, false)), (String
+    ((Ascii (true, true, false, false, false, false, true, false)), (String
+    ((Ascii (false, false, true, false, true, true, true, false)), (String
+    ((Ascii (false, false, false, true, true, true, true, false)),
+    EmptyString)))))))))))))))) } :: [])
 
-(** val all_layouts : layout list **)
+(** val mergedir_group_ctx : bool **)
 
-let all_layouts =
-  l_ADVBatchControl :: (l_ADVEntryDetail :: (l_ADVFileControl :: (l_Addenda02 :: (l_Addenda05 :: (l_Addenda10 :: (l_Addenda11 :: (l_Addenda12 :: (l_Addenda13 :: (l_Addenda14 :: (l_Addenda15 :: (l_Addenda16 :: (l_Addenda17 :: (l_Addenda18 :: (l_Addenda98 :: (l_Addenda98Refused :: (l_Addenda99 :: (l_Addenda99Contested :: (l_Addenda99Dishonored :: (l_BatchControl :: (l_BatchHeader :: (l_EntryDetail :: (l_FileControl :: (l_FileHeader :: (l_IATBatchHeader :: (l_IATEntryDetail :: [])))))))))))))))))))))))))
+let mergedir_group_ctx =
+  true
+
+(** val walkdir_early_returns : string list **)
+
+let walkdir_early_returns =
+  []
+
+(** val mergedir_sel : bool **)
+
+let mergedir_sel =
+  shape_sel mergedir_sends mergedir_group_ctx
+
+(** val default_accept : bytes -> acceptance **)
+
+let default_accept p =
+  accept_with acceptor_table acceptor_default p
+
+(** val walk_as_coded : bool -> path -> node list -> path list **)
+
+let walk_as_coded sub prefix items =
+  if loop_complete walkdir_early_returns
+  then walk sub prefix items
+  else walk_unfixed sub prefix items
+
+(** val accepted_as_coded : bool -> node list -> path list **)
+
+let accepted_as_coded sub items =
+  filter (fun p ->
+    match default_accept (last p []) with
+    | Skip -> false
+    | _ -> true) (walk_as_coded sub [] items)
